@@ -1,24336 +1,253 @@
-    rw [ih v rest h.1]
-    simp only [length_append_sub, ↓reduceIte]
-i    rw [ih v rest h.1]
-    simp only [length_append_sub, ↓reduceIte]
-m    rw [ih v rest h.1]
-    simp only [length_append_sub, ↓reduceIte]
-p    rw [ih v rest h.1]
-    simp only [length_append_sub, ↓reduceIte]
-o    rw [ih v rest h.1]
-    simp only [length_append_sub, ↓reduceIte]
-r    rw [ih v rest h.1]
-    simp only [length_append_sub, ↓reduceIte]
-t    rw [ih v rest h.1]
-    simp only [length_append_sub, ↓reduceIte]
-     rw [ih v rest h.1]
-    simp only [length_append_sub, ↓reduceIte]
-S    rw [ih v rest h.1]
-    simp only [length_append_sub, ↓reduceIte]
-a    rw [ih v rest h.1]
-    simp only [length_append_sub, ↓reduceIte]
-r    rw [ih v rest h.1]
-    simp only [length_append_sub, ↓reduceIte]
-a    rw [ih v rest h.1]
-    simp only [length_append_sub, ↓reduceIte]
-m    rw [ih v rest h.1]
-    simp only [length_append_sub, ↓reduceIte]
-a    rw [ih v rest h.1]
-    simp only [length_append_sub, ↓reduceIte]
-V    rw [ih v rest h.1]
-    simp only [length_append_sub, ↓reduceIte]
-e    rw [ih v rest h.1]
-    simp only [length_append_sub, ↓reduceIte]
-r    rw [ih v rest h.1]
-    simp only [length_append_sub, ↓reduceIte]
-i    rw [ih v rest h.1]
-    simp only [length_append_sub, ↓reduceIte]
-f    rw [ih v rest h.1]
-    simp only [length_append_sub, ↓reduceIte]
-.    rw [ih v rest h.1]
-    simp only [length_append_sub, ↓reduceIte]
-M    rw [ih v rest h.1]
-    simp only [length_append_sub, ↓reduceIte]
-o    rw [ih v rest h.1]
-    simp only [length_append_sub, ↓reduceIte]
-d    rw [ih v rest h.1]
-    simp only [length_append_sub, ↓reduceIte]
-e    rw [ih v rest h.1]
-    simp only [length_append_sub, ↓reduceIte]
-l    rw [ih v rest h.1]
-    simp only [length_append_sub, ↓reduceIte]
-.    rw [ih v rest h.1]
-    simp only [length_append_sub, ↓reduceIte]
-C    rw [ih v rest h.1]
-    simp only [length_append_sub, ↓reduceIte]
-o    rw [ih v rest h.1]
-    simp only [length_append_sub, ↓reduceIte]
-d    rw [ih v rest h.1]
-    simp only [length_append_sub, ↓reduceIte]
-e    rw [ih v rest h.1]
-    simp only [length_append_sub, ↓reduceIte]
-c    rw [ih v rest h.1]
-    simp only [length_append_sub, ↓reduceIte]
-F    rw [ih v rest h.1]
-    simp only [length_append_sub, ↓reduceIte]
-m    rw [ih v rest h.1]
-    simp only [length_append_sub, ↓reduceIte]
-t    rw [ih v rest h.1]
-    simp only [length_append_sub, ↓reduceIte]
-
-    rw [ih v rest h.1]
-    simp only [length_append_sub, ↓reduceIte]
-i    rw [ih v rest h.1]
-    simp only [length_append_sub, ↓reduceIte]
-m    rw [ih v rest h.1]
-    simp only [length_append_sub, ↓reduceIte]
-p    rw [ih v rest h.1]
-    simp only [length_append_sub, ↓reduceIte]
-o    rw [ih v rest h.1]
-    simp only [length_append_sub, ↓reduceIte]
-r    rw [ih v rest h.1]
-    simp only [length_append_sub, ↓reduceIte]
-t    rw [ih v rest h.1]
-    simp only [length_append_sub, ↓reduceIte]
-     rw [ih v rest h.1]
-    simp only [length_append_sub, ↓reduceIte]
-S    rw [ih v rest h.1]
-    simp only [length_append_sub, ↓reduceIte]
-a    rw [ih v rest h.1]
-    simp only [length_append_sub, ↓reduceIte]
-r    rw [ih v rest h.1]
-    simp only [length_append_sub, ↓reduceIte]
-a    rw [ih v rest h.1]
-    simp only [length_append_sub, ↓reduceIte]
-m    rw [ih v rest h.1]
-    simp only [length_append_sub, ↓reduceIte]
-a    rw [ih v rest h.1]
-    simp only [length_append_sub, ↓reduceIte]
-V    rw [ih v rest h.1]
-    simp only [length_append_sub, ↓reduceIte]
-e    rw [ih v rest h.1]
-    simp only [length_append_sub, ↓reduceIte]
-r    rw [ih v rest h.1]
-    simp only [length_append_sub, ↓reduceIte]
-i    rw [ih v rest h.1]
-    simp only [length_append_sub, ↓reduceIte]
-f    rw [ih v rest h.1]
-    simp only [length_append_sub, ↓reduceIte]
-.    rw [ih v rest h.1]
-    simp only [length_append_sub, ↓reduceIte]
-L    rw [ih v rest h.1]
-    simp only [length_append_sub, ↓reduceIte]
-e    rw [ih v rest h.1]
-    simp only [length_append_sub, ↓reduceIte]
-m    rw [ih v rest h.1]
-    simp only [length_append_sub, ↓reduceIte]
-m    rw [ih v rest h.1]
-    simp only [length_append_sub, ↓reduceIte]
-a    rw [ih v rest h.1]
-    simp only [length_append_sub, ↓reduceIte]
-s    rw [ih v rest h.1]
-    simp only [length_append_sub, ↓reduceIte]
-.    rw [ih v rest h.1]
-    simp only [length_append_sub, ↓reduceIte]
-C    rw [ih v rest h.1]
-    simp only [length_append_sub, ↓reduceIte]
-0    rw [ih v rest h.1]
-    simp only [length_append_sub, ↓reduceIte]
-9    rw [ih v rest h.1]
-    simp only [length_append_sub, ↓reduceIte]
-P    rw [ih v rest h.1]
-    simp only [length_append_sub, ↓reduceIte]
-r    rw [ih v rest h.1]
-    simp only [length_append_sub, ↓reduceIte]
-i    rw [ih v rest h.1]
-    simp only [length_append_sub, ↓reduceIte]
-m    rw [ih v rest h.1]
-    simp only [length_append_sub, ↓reduceIte]
-
-    rw [ih v rest h.1]
-    simp only [length_append_sub, ↓reduceIte]
-/    rw [ih v rest h.1]
-    simp only [length_append_sub, ↓reduceIte]
--    rw [ih v rest h.1]
-    simp only [length_append_sub, ↓reduceIte]
-
-    rw [ih v rest h.1]
-    simp only [length_append_sub, ↓reduceIte]
-     rw [ih v rest h.1]
-    simp only [length_append_sub, ↓reduceIte]
-     rw [ih v rest h.1]
-    simp only [length_append_sub, ↓reduceIte]
-H    rw [ih v rest h.1]
-    simp only [length_append_sub, ↓reduceIte]
-e    rw [ih v rest h.1]
-    simp only [length_append_sub, ↓reduceIte]
-l    rw [ih v rest h.1]
-    simp only [length_append_sub, ↓reduceIte]
-p    rw [ih v rest h.1]
-    simp only [length_append_sub, ↓reduceIte]
-e    rw [ih v rest h.1]
-    simp only [length_append_sub, ↓reduceIte]
-r    rw [ih v rest h.1]
-    simp only [length_append_sub, ↓reduceIte]
-     rw [ih v rest h.1]
-    simp only [length_append_sub, ↓reduceIte]
-l    rw [ih v rest h.1]
-    simp only [length_append_sub, ↓reduceIte]
-e    rw [ih v rest h.1]
-    simp only [length_append_sub, ↓reduceIte]
-m    rw [ih v rest h.1]
-    simp only [length_append_sub, ↓reduceIte]
-m    rw [ih v rest h.1]
-    simp only [length_append_sub, ↓reduceIte]
-a    rw [ih v rest h.1]
-    simp only [length_append_sub, ↓reduceIte]
-s    rw [ih v rest h.1]
-    simp only [length_append_sub, ↓reduceIte]
-     rw [ih v rest h.1]
-    simp only [length_append_sub, ↓reduceIte]
-f    rw [ih v rest h.1]
-    simp only [length_append_sub, ↓reduceIte]
-o    rw [ih v rest h.1]
-    simp only [length_append_sub, ↓reduceIte]
-r    rw [ih v rest h.1]
-    simp only [length_append_sub, ↓reduceIte]
-     rw [ih v rest h.1]
-    simp only [length_append_sub, ↓reduceIte]
-C    rw [ih v rest h.1]
-    simp only [length_append_sub, ↓reduceIte]
-0    rw [ih v rest h.1]
-    simp only [length_append_sub, ↓reduceIte]
-9    rw [ih v rest h.1]
-    simp only [length_append_sub, ↓reduceIte]
-     rw [ih v rest h.1]
-    simp only [length_append_sub, ↓reduceIte]
-a    rw [ih v rest h.1]
-    simp only [length_append_sub, ↓reduceIte]
-b    rw [ih v rest h.1]
-    simp only [length_append_sub, ↓reduceIte]
-o    rw [ih v rest h.1]
-    simp only [length_append_sub, ↓reduceIte]
-u    rw [ih v rest h.1]
-    simp only [length_append_sub, ↓reduceIte]
-t    rw [ih v rest h.1]
-    simp only [length_append_sub, ↓reduceIte]
-     rw [ih v rest h.1]
-    simp only [length_append_sub, ↓reduceIte]
-t    rw [ih v rest h.1]
-    simp only [length_append_sub, ↓reduceIte]
-h    rw [ih v rest h.1]
-    simp only [length_append_sub, ↓reduceIte]
-e    rw [ih v rest h.1]
-    simp only [length_append_sub, ↓reduceIte]
-     rw [ih v rest h.1]
-    simp only [length_append_sub, ↓reduceIte]
-s    rw [ih v rest h.1]
-    simp only [length_append_sub, ↓reduceIte]
-c    rw [ih v rest h.1]
-    simp only [length_append_sub, ↓reduceIte]
-h    rw [ih v rest h.1]
-    simp only [length_append_sub, ↓reduceIte]
-e    rw [ih v rest h.1]
-    simp only [length_append_sub, ↓reduceIte]
-m    rw [ih v rest h.1]
-    simp only [length_append_sub, ↓reduceIte]
-a    rw [ih v rest h.1]
-    simp only [length_append_sub, ↓reduceIte]
-     rw [ih v rest h.1]
-    simp only [length_append_sub, ↓reduceIte]
-i    rw [ih v rest h.1]
-    simp only [length_append_sub, ↓reduceIte]
-n    rw [ih v rest h.1]
-    simp only [length_append_sub, ↓reduceIte]
-t    rw [ih v rest h.1]
-    simp only [length_append_sub, ↓reduceIte]
-e    rw [ih v rest h.1]
-    simp only [length_append_sub, ↓reduceIte]
-r    rw [ih v rest h.1]
-    simp only [length_append_sub, ↓reduceIte]
-p    rw [ih v rest h.1]
-    simp only [length_append_sub, ↓reduceIte]
-r    rw [ih v rest h.1]
-    simp only [length_append_sub, ↓reduceIte]
-e    rw [ih v rest h.1]
-    simp only [length_append_sub, ↓reduceIte]
-t    rw [ih v rest h.1]
-    simp only [length_append_sub, ↓reduceIte]
-e    rw [ih v rest h.1]
-    simp only [length_append_sub, ↓reduceIte]
-r    rw [ih v rest h.1]
-    simp only [length_append_sub, ↓reduceIte]
-s    rw [ih v rest h.1]
-    simp only [length_append_sub, ↓reduceIte]
-     rw [ih v rest h.1]
-    simp only [length_append_sub, ↓reduceIte]
-o    rw [ih v rest h.1]
-    simp only [length_append_sub, ↓reduceIte]
-f    rw [ih v rest h.1]
-    simp only [length_append_sub, ↓reduceIte]
-     rw [ih v rest h.1]
-    simp only [length_append_sub, ↓reduceIte]
-M    rw [ih v rest h.1]
-    simp only [length_append_sub, ↓reduceIte]
-o    rw [ih v rest h.1]
-    simp only [length_append_sub, ↓reduceIte]
-d    rw [ih v rest h.1]
-    simp only [length_append_sub, ↓reduceIte]
-e    rw [ih v rest h.1]
-    simp only [length_append_sub, ↓reduceIte]
-l    rw [ih v rest h.1]
-    simp only [length_append_sub, ↓reduceIte]
-/    rw [ih v rest h.1]
-    simp only [length_append_sub, ↓reduceIte]
-C    rw [ih v rest h.1]
-    simp only [length_append_sub, ↓reduceIte]
-o    rw [ih v rest h.1]
-    simp only [length_append_sub, ↓reduceIte]
-d    rw [ih v rest h.1]
-    simp only [length_append_sub, ↓reduceIte]
-e    rw [ih v rest h.1]
-    simp only [length_append_sub, ↓reduceIte]
-c    rw [ih v rest h.1]
-    simp only [length_append_sub, ↓reduceIte]
-F    rw [ih v rest h.1]
-    simp only [length_append_sub, ↓reduceIte]
-m    rw [ih v rest h.1]
-    simp only [length_append_sub, ↓reduceIte]
-t    rw [ih v rest h.1]
-    simp only [length_append_sub, ↓reduceIte]
-.    rw [ih v rest h.1]
-    simp only [length_append_sub, ↓reduceIte]
-l    rw [ih v rest h.1]
-    simp only [length_append_sub, ↓reduceIte]
-e    rw [ih v rest h.1]
-    simp only [length_append_sub, ↓reduceIte]
-a    rw [ih v rest h.1]
-    simp only [length_append_sub, ↓reduceIte]
-n    rw [ih v rest h.1]
-    simp only [length_append_sub, ↓reduceIte]
-.    rw [ih v rest h.1]
-    simp only [length_append_sub, ↓reduceIte]
-
-    rw [ih v rest h.1]
-    simp only [length_append_sub, ↓reduceIte]
--    rw [ih v rest h.1]
-    simp only [length_append_sub, ↓reduceIte]
-/    rw [ih v rest h.1]
-    simp only [length_append_sub, ↓reduceIte]
-
-    rw [ih v rest h.1]
-    simp only [length_append_sub, ↓reduceIte]
-n    rw [ih v rest h.1]
-    simp only [length_append_sub, ↓reduceIte]
-a    rw [ih v rest h.1]
-    simp only [length_append_sub, ↓reduceIte]
-m    rw [ih v rest h.1]
-    simp only [length_append_sub, ↓reduceIte]
-e    rw [ih v rest h.1]
-    simp only [length_append_sub, ↓reduceIte]
-s    rw [ih v rest h.1]
-    simp only [length_append_sub, ↓reduceIte]
-p    rw [ih v rest h.1]
-    simp only [length_append_sub, ↓reduceIte]
-a    rw [ih v rest h.1]
-    simp only [length_append_sub, ↓reduceIte]
-c    rw [ih v rest h.1]
-    simp only [length_append_sub, ↓reduceIte]
-e    rw [ih v rest h.1]
-    simp only [length_append_sub, ↓reduceIte]
-     rw [ih v rest h.1]
-    simp only [length_append_sub, ↓reduceIte]
-L    rw [ih v rest h.1]
-    simp only [length_append_sub, ↓reduceIte]
-e    rw [ih v rest h.1]
-    simp only [length_append_sub, ↓reduceIte]
-m    rw [ih v rest h.1]
-    simp only [length_append_sub, ↓reduceIte]
-m    rw [ih v rest h.1]
-    simp only [length_append_sub, ↓reduceIte]
-a    rw [ih v rest h.1]
-    simp only [length_append_sub, ↓reduceIte]
-s    rw [ih v rest h.1]
-    simp only [length_append_sub, ↓reduceIte]
-.    rw [ih v rest h.1]
-    simp only [length_append_sub, ↓reduceIte]
-C    rw [ih v rest h.1]
-    simp only [length_append_sub, ↓reduceIte]
-0    rw [ih v rest h.1]
-    simp only [length_append_sub, ↓reduceIte]
-9    rw [ih v rest h.1]
-    simp only [length_append_sub, ↓reduceIte]
-
-    rw [ih v rest h.1]
-    simp only [length_append_sub, ↓reduceIte]
-o    rw [ih v rest h.1]
-    simp only [length_append_sub, ↓reduceIte]
-p    rw [ih v rest h.1]
-    simp only [length_append_sub, ↓reduceIte]
-e    rw [ih v rest h.1]
-    simp only [length_append_sub, ↓reduceIte]
-n    rw [ih v rest h.1]
-    simp only [length_append_sub, ↓reduceIte]
-     rw [ih v rest h.1]
-    simp only [length_append_sub, ↓reduceIte]
-M    rw [ih v rest h.1]
-    simp only [length_append_sub, ↓reduceIte]
-o    rw [ih v rest h.1]
-    simp only [length_append_sub, ↓reduceIte]
-d    rw [ih v rest h.1]
-    simp only [length_append_sub, ↓reduceIte]
-e    rw [ih v rest h.1]
-    simp only [length_append_sub, ↓reduceIte]
-l    rw [ih v rest h.1]
-    simp only [length_append_sub, ↓reduceIte]
-.    rw [ih v rest h.1]
-    simp only [length_append_sub, ↓reduceIte]
-C    rw [ih v rest h.1]
-    simp only [length_append_sub, ↓reduceIte]
-o    rw [ih v rest h.1]
-    simp only [length_append_sub, ↓reduceIte]
-d    rw [ih v rest h.1]
-    simp only [length_append_sub, ↓reduceIte]
-e    rw [ih v rest h.1]
-    simp only [length_append_sub, ↓reduceIte]
-c    rw [ih v rest h.1]
-    simp only [length_append_sub, ↓reduceIte]
-
-    rw [ih v rest h.1]
-    simp only [length_append_sub, ↓reduceIte]
-
-    rw [ih v rest h.1]
-    simp only [length_append_sub, ↓reduceIte]
-/    rw [ih v rest h.1]
-    simp only [length_append_sub, ↓reduceIte]
--    rw [ih v rest h.1]
-    simp only [length_append_sub, ↓reduceIte]
-!    rw [ih v rest h.1]
-    simp only [length_append_sub, ↓reduceIte]
-     rw [ih v rest h.1]
-    simp only [length_append_sub, ↓reduceIte]
-#    rw [ih v rest h.1]
-    simp only [length_append_sub, ↓reduceIte]
-#    rw [ih v rest h.1]
-    simp only [length_append_sub, ↓reduceIte]
-#    rw [ih v rest h.1]
-    simp only [length_append_sub, ↓reduceIte]
-     rw [ih v rest h.1]
-    simp only [length_append_sub, ↓reduceIte]
-p    rw [ih v rest h.1]
-    simp only [length_append_sub, ↓reduceIte]
-r    rw [ih v rest h.1]
-    simp only [length_append_sub, ↓reduceIte]
-i    rw [ih v rest h.1]
-    simp only [length_append_sub, ↓reduceIte]
-m    rw [ih v rest h.1]
-    simp only [length_append_sub, ↓reduceIte]
-i    rw [ih v rest h.1]
-    simp only [length_append_sub, ↓reduceIte]
-t    rw [ih v rest h.1]
-    simp only [length_append_sub, ↓reduceIte]
-i    rw [ih v rest h.1]
-    simp only [length_append_sub, ↓reduceIte]
-v    rw [ih v rest h.1]
-    simp only [length_append_sub, ↓reduceIte]
-e    rw [ih v rest h.1]
-    simp only [length_append_sub, ↓reduceIte]
-s    rw [ih v rest h.1]
-    simp only [length_append_sub, ↓reduceIte]
-     rw [ih v rest h.1]
-    simp only [length_append_sub, ↓reduceIte]
-a    rw [ih v rest h.1]
-    simp only [length_append_sub, ↓reduceIte]
-s    rw [ih v rest h.1]
-    simp only [length_append_sub, ↓reduceIte]
-     rw [ih v rest h.1]
-    simp only [length_append_sub, ↓reduceIte]
-`    rw [ih v rest h.1]
-    simp only [length_append_sub, ↓reduceIte]
-P    rw [ih v rest h.1]
-    simp only [length_append_sub, ↓reduceIte]
-r    rw [ih v rest h.1]
-    simp only [length_append_sub, ↓reduceIte]
-i    rw [ih v rest h.1]
-    simp only [length_append_sub, ↓reduceIte]
-m    rw [ih v rest h.1]
-    simp only [length_append_sub, ↓reduceIte]
-`    rw [ih v rest h.1]
-    simp only [length_append_sub, ↓reduceIte]
-     rw [ih v rest h.1]
-    simp only [length_append_sub, ↓reduceIte]
--    rw [ih v rest h.1]
-    simp only [length_append_sub, ↓reduceIte]
-/    rw [ih v rest h.1]
-    simp only [length_append_sub, ↓reduceIte]
-
-    rw [ih v rest h.1]
-    simp only [length_append_sub, ↓reduceIte]
-
-    rw [ih v rest h.1]
-    simp only [length_append_sub, ↓reduceIte]
-t    rw [ih v rest h.1]
-    simp only [length_append_sub, ↓reduceIte]
-h    rw [ih v rest h.1]
-    simp only [length_append_sub, ↓reduceIte]
-e    rw [ih v rest h.1]
-    simp only [length_append_sub, ↓reduceIte]
-o    rw [ih v rest h.1]
-    simp only [length_append_sub, ↓reduceIte]
-r    rw [ih v rest h.1]
-    simp only [length_append_sub, ↓reduceIte]
-e    rw [ih v rest h.1]
-    simp only [length_append_sub, ↓reduceIte]
-m    rw [ih v rest h.1]
-    simp only [length_append_sub, ↓reduceIte]
-     rw [ih v rest h.1]
-    simp only [length_append_sub, ↓reduceIte]
-i    rw [ih v rest h.1]
-    simp only [length_append_sub, ↓reduceIte]
-n    rw [ih v rest h.1]
-    simp only [length_append_sub, ↓reduceIte]
-t    rw [ih v rest h.1]
-    simp only [length_append_sub, ↓reduceIte]
-s    rw [ih v rest h.1]
-    simp only [length_append_sub, ↓reduceIte]
-O    rw [ih v rest h.1]
-    simp only [length_append_sub, ↓reduceIte]
-f    rw [ih v rest h.1]
-    simp only [length_append_sub, ↓reduceIte]
-_    rw [ih v rest h.1]
-    simp only [length_append_sub, ↓reduceIte]
-l    rw [ih v rest h.1]
-    simp only [length_append_sub, ↓reduceIte]
-e    rw [ih v rest h.1]
-    simp only [length_append_sub, ↓reduceIte]
-n    rw [ih v rest h.1]
-    simp only [length_append_sub, ↓reduceIte]
-g    rw [ih v rest h.1]
-    simp only [length_append_sub, ↓reduceIte]
-t    rw [ih v rest h.1]
-    simp only [length_append_sub, ↓reduceIte]
-h    rw [ih v rest h.1]
-    simp only [length_append_sub, ↓reduceIte]
-     rw [ih v rest h.1]
-    simp only [length_append_sub, ↓reduceIte]
-(    rw [ih v rest h.1]
-    simp only [length_append_sub, ↓reduceIte]
-v    rw [ih v rest h.1]
-    simp only [length_append_sub, ↓reduceIte]
-s    rw [ih v rest h.1]
-    simp only [length_append_sub, ↓reduceIte]
-     rw [ih v rest h.1]
-    simp only [length_append_sub, ↓reduceIte]
-:    rw [ih v rest h.1]
-    simp only [length_append_sub, ↓reduceIte]
-     rw [ih v rest h.1]
-    simp only [length_append_sub, ↓reduceIte]
-L    rw [ih v rest h.1]
-    simp only [length_append_sub, ↓reduceIte]
-i    rw [ih v rest h.1]
-    simp only [length_append_sub, ↓reduceIte]
-s    rw [ih v rest h.1]
-    simp only [length_append_sub, ↓reduceIte]
-t    rw [ih v rest h.1]
-    simp only [length_append_sub, ↓reduceIte]
-     rw [ih v rest h.1]
-    simp only [length_append_sub, ↓reduceIte]
-V    rw [ih v rest h.1]
-    simp only [length_append_sub, ↓reduceIte]
-a    rw [ih v rest h.1]
-    simp only [length_append_sub, ↓reduceIte]
-l    rw [ih v rest h.1]
-    simp only [length_append_sub, ↓reduceIte]
-)    rw [ih v rest h.1]
-    simp only [length_append_sub, ↓reduceIte]
-     rw [ih v rest h.1]
-    simp only [length_append_sub, ↓reduceIte]
-:    rw [ih v rest h.1]
-    simp only [length_append_sub, ↓reduceIte]
-     rw [ih v rest h.1]
-    simp only [length_append_sub, ↓reduceIte]
-(    rw [ih v rest h.1]
-    simp only [length_append_sub, ↓reduceIte]
-i    rw [ih v rest h.1]
-    simp only [length_append_sub, ↓reduceIte]
-n    rw [ih v rest h.1]
-    simp only [length_append_sub, ↓reduceIte]
-t    rw [ih v rest h.1]
-    simp only [length_append_sub, ↓reduceIte]
-s    rw [ih v rest h.1]
-    simp only [length_append_sub, ↓reduceIte]
-O    rw [ih v rest h.1]
-    simp only [length_append_sub, ↓reduceIte]
-f    rw [ih v rest h.1]
-    simp only [length_append_sub, ↓reduceIte]
-     rw [ih v rest h.1]
-    simp only [length_append_sub, ↓reduceIte]
-v    rw [ih v rest h.1]
-    simp only [length_append_sub, ↓reduceIte]
-s    rw [ih v rest h.1]
-    simp only [length_append_sub, ↓reduceIte]
-)    rw [ih v rest h.1]
-    simp only [length_append_sub, ↓reduceIte]
-.    rw [ih v rest h.1]
-    simp only [length_append_sub, ↓reduceIte]
-l    rw [ih v rest h.1]
-    simp only [length_append_sub, ↓reduceIte]
-e    rw [ih v rest h.1]
-    simp only [length_append_sub, ↓reduceIte]
-n    rw [ih v rest h.1]
-    simp only [length_append_sub, ↓reduceIte]
-g    rw [ih v rest h.1]
-    simp only [length_append_sub, ↓reduceIte]
-t    rw [ih v rest h.1]
-    simp only [length_append_sub, ↓reduceIte]
-h    rw [ih v rest h.1]
-    simp only [length_append_sub, ↓reduceIte]
-     rw [ih v rest h.1]
-    simp only [length_append_sub, ↓reduceIte]
-=    rw [ih v rest h.1]
-    simp only [length_append_sub, ↓reduceIte]
-     rw [ih v rest h.1]
-    simp only [length_append_sub, ↓reduceIte]
-v    rw [ih v rest h.1]
-    simp only [length_append_sub, ↓reduceIte]
-s    rw [ih v rest h.1]
-    simp only [length_append_sub, ↓reduceIte]
-.    rw [ih v rest h.1]
-    simp only [length_append_sub, ↓reduceIte]
-l    rw [ih v rest h.1]
-    simp only [length_append_sub, ↓reduceIte]
-e    rw [ih v rest h.1]
-    simp only [length_append_sub, ↓reduceIte]
-n    rw [ih v rest h.1]
-    simp only [length_append_sub, ↓reduceIte]
-g    rw [ih v rest h.1]
-    simp only [length_append_sub, ↓reduceIte]
-t    rw [ih v rest h.1]
-    simp only [length_append_sub, ↓reduceIte]
-h    rw [ih v rest h.1]
-    simp only [length_append_sub, ↓reduceIte]
-     rw [ih v rest h.1]
-    simp only [length_append_sub, ↓reduceIte]
-:    rw [ih v rest h.1]
-    simp only [length_append_sub, ↓reduceIte]
-=    rw [ih v rest h.1]
-    simp only [length_append_sub, ↓reduceIte]
-     rw [ih v rest h.1]
-    simp only [length_append_sub, ↓reduceIte]
-b    rw [ih v rest h.1]
-    simp only [length_append_sub, ↓reduceIte]
-y    rw [ih v rest h.1]
-    simp only [length_append_sub, ↓reduceIte]
-     rw [ih v rest h.1]
-    simp only [length_append_sub, ↓reduceIte]
-s    rw [ih v rest h.1]
-    simp only [length_append_sub, ↓reduceIte]
-i    rw [ih v rest h.1]
-    simp only [length_append_sub, ↓reduceIte]
-m    rw [ih v rest h.1]
-    simp only [length_append_sub, ↓reduceIte]
-p    rw [ih v rest h.1]
-    simp only [length_append_sub, ↓reduceIte]
-     rw [ih v rest h.1]
-    simp only [length_append_sub, ↓reduceIte]
-[    rw [ih v rest h.1]
-    simp only [length_append_sub, ↓reduceIte]
-i    rw [ih v rest h.1]
-    simp only [length_append_sub, ↓reduceIte]
-n    rw [ih v rest h.1]
-    simp only [length_append_sub, ↓reduceIte]
-t    rw [ih v rest h.1]
-    simp only [length_append_sub, ↓reduceIte]
-s    rw [ih v rest h.1]
-    simp only [length_append_sub, ↓reduceIte]
-O    rw [ih v rest h.1]
-    simp only [length_append_sub, ↓reduceIte]
-f    rw [ih v rest h.1]
-    simp only [length_append_sub, ↓reduceIte]
-]    rw [ih v rest h.1]
-    simp only [length_append_sub, ↓reduceIte]
-
-    rw [ih v rest h.1]
-    simp only [length_append_sub, ↓reduceIte]
-t    rw [ih v rest h.1]
-    simp only [length_append_sub, ↓reduceIte]
-h    rw [ih v rest h.1]
-    simp only [length_append_sub, ↓reduceIte]
-e    rw [ih v rest h.1]
-    simp only [length_append_sub, ↓reduceIte]
-o    rw [ih v rest h.1]
-    simp only [length_append_sub, ↓reduceIte]
-r    rw [ih v rest h.1]
-    simp only [length_append_sub, ↓reduceIte]
-e    rw [ih v rest h.1]
-    simp only [length_append_sub, ↓reduceIte]
-m    rw [ih v rest h.1]
-    simp only [length_append_sub, ↓reduceIte]
-     rw [ih v rest h.1]
-    simp only [length_append_sub, ↓reduceIte]
-b    rw [ih v rest h.1]
-    simp only [length_append_sub, ↓reduceIte]
-y    rw [ih v rest h.1]
-    simp only [length_append_sub, ↓reduceIte]
-t    rw [ih v rest h.1]
-    simp only [length_append_sub, ↓reduceIte]
-e    rw [ih v rest h.1]
-    simp only [length_append_sub, ↓reduceIte]
-s    rw [ih v rest h.1]
-    simp only [length_append_sub, ↓reduceIte]
-O    rw [ih v rest h.1]
-    simp only [length_append_sub, ↓reduceIte]
-f    rw [ih v rest h.1]
-    simp only [length_append_sub, ↓reduceIte]
-_    rw [ih v rest h.1]
-    simp only [length_append_sub, ↓reduceIte]
-l    rw [ih v rest h.1]
-    simp only [length_append_sub, ↓reduceIte]
-e    rw [ih v rest h.1]
-    simp only [length_append_sub, ↓reduceIte]
-n    rw [ih v rest h.1]
-    simp only [length_append_sub, ↓reduceIte]
-g    rw [ih v rest h.1]
-    simp only [length_append_sub, ↓reduceIte]
-t    rw [ih v rest h.1]
-    simp only [length_append_sub, ↓reduceIte]
-h    rw [ih v rest h.1]
-    simp only [length_append_sub, ↓reduceIte]
-     rw [ih v rest h.1]
-    simp only [length_append_sub, ↓reduceIte]
-(    rw [ih v rest h.1]
-    simp only [length_append_sub, ↓reduceIte]
-v    rw [ih v rest h.1]
-    simp only [length_append_sub, ↓reduceIte]
-s    rw [ih v rest h.1]
-    simp only [length_append_sub, ↓reduceIte]
-     rw [ih v rest h.1]
-    simp only [length_append_sub, ↓reduceIte]
-:    rw [ih v rest h.1]
-    simp only [length_append_sub, ↓reduceIte]
-     rw [ih v rest h.1]
-    simp only [length_append_sub, ↓reduceIte]
-L    rw [ih v rest h.1]
-    simp only [length_append_sub, ↓reduceIte]
-i    rw [ih v rest h.1]
-    simp only [length_append_sub, ↓reduceIte]
-s    rw [ih v rest h.1]
-    simp only [length_append_sub, ↓reduceIte]
-t    rw [ih v rest h.1]
-    simp only [length_append_sub, ↓reduceIte]
-     rw [ih v rest h.1]
-    simp only [length_append_sub, ↓reduceIte]
-V    rw [ih v rest h.1]
-    simp only [length_append_sub, ↓reduceIte]
-a    rw [ih v rest h.1]
-    simp only [length_append_sub, ↓reduceIte]
-l    rw [ih v rest h.1]
-    simp only [length_append_sub, ↓reduceIte]
-)    rw [ih v rest h.1]
-    simp only [length_append_sub, ↓reduceIte]
-     rw [ih v rest h.1]
-    simp only [length_append_sub, ↓reduceIte]
-:    rw [ih v rest h.1]
-    simp only [length_append_sub, ↓reduceIte]
-     rw [ih v rest h.1]
-    simp only [length_append_sub, ↓reduceIte]
-(    rw [ih v rest h.1]
-    simp only [length_append_sub, ↓reduceIte]
-b    rw [ih v rest h.1]
-    simp only [length_append_sub, ↓reduceIte]
-y    rw [ih v rest h.1]
-    simp only [length_append_sub, ↓reduceIte]
-t    rw [ih v rest h.1]
-    simp only [length_append_sub, ↓reduceIte]
-e    rw [ih v rest h.1]
-    simp only [length_append_sub, ↓reduceIte]
-s    rw [ih v rest h.1]
-    simp only [length_append_sub, ↓reduceIte]
-O    rw [ih v rest h.1]
-    simp only [length_append_sub, ↓reduceIte]
-f    rw [ih v rest h.1]
-    simp only [length_append_sub, ↓reduceIte]
-     rw [ih v rest h.1]
-    simp only [length_append_sub, ↓reduceIte]
-v    rw [ih v rest h.1]
-    simp only [length_append_sub, ↓reduceIte]
-s    rw [ih v rest h.1]
-    simp only [length_append_sub, ↓reduceIte]
-)    rw [ih v rest h.1]
-    simp only [length_append_sub, ↓reduceIte]
-.    rw [ih v rest h.1]
-    simp only [length_append_sub, ↓reduceIte]
-l    rw [ih v rest h.1]
-    simp only [length_append_sub, ↓reduceIte]
-e    rw [ih v rest h.1]
-    simp only [length_append_sub, ↓reduceIte]
-n    rw [ih v rest h.1]
-    simp only [length_append_sub, ↓reduceIte]
-g    rw [ih v rest h.1]
-    simp only [length_append_sub, ↓reduceIte]
-t    rw [ih v rest h.1]
-    simp only [length_append_sub, ↓reduceIte]
-h    rw [ih v rest h.1]
-    simp only [length_append_sub, ↓reduceIte]
-     rw [ih v rest h.1]
-    simp only [length_append_sub, ↓reduceIte]
-=    rw [ih v rest h.1]
-    simp only [length_append_sub, ↓reduceIte]
-     rw [ih v rest h.1]
-    simp only [length_append_sub, ↓reduceIte]
-v    rw [ih v rest h.1]
-    simp only [length_append_sub, ↓reduceIte]
-s    rw [ih v rest h.1]
-    simp only [length_append_sub, ↓reduceIte]
-.    rw [ih v rest h.1]
-    simp only [length_append_sub, ↓reduceIte]
-l    rw [ih v rest h.1]
-    simp only [length_append_sub, ↓reduceIte]
-e    rw [ih v rest h.1]
-    simp only [length_append_sub, ↓reduceIte]
-n    rw [ih v rest h.1]
-    simp only [length_append_sub, ↓reduceIte]
-g    rw [ih v rest h.1]
-    simp only [length_append_sub, ↓reduceIte]
-t    rw [ih v rest h.1]
-    simp only [length_append_sub, ↓reduceIte]
-h    rw [ih v rest h.1]
-    simp only [length_append_sub, ↓reduceIte]
-     rw [ih v rest h.1]
-    simp only [length_append_sub, ↓reduceIte]
-:    rw [ih v rest h.1]
-    simp only [length_append_sub, ↓reduceIte]
-=    rw [ih v rest h.1]
-    simp only [length_append_sub, ↓reduceIte]
-     rw [ih v rest h.1]
-    simp only [length_append_sub, ↓reduceIte]
-b    rw [ih v rest h.1]
-    simp only [length_append_sub, ↓reduceIte]
-y    rw [ih v rest h.1]
-    simp only [length_append_sub, ↓reduceIte]
-     rw [ih v rest h.1]
-    simp only [length_append_sub, ↓reduceIte]
-s    rw [ih v rest h.1]
-    simp only [length_append_sub, ↓reduceIte]
-i    rw [ih v rest h.1]
-    simp only [length_append_sub, ↓reduceIte]
-m    rw [ih v rest h.1]
-    simp only [length_append_sub, ↓reduceIte]
-p    rw [ih v rest h.1]
-    simp only [length_append_sub, ↓reduceIte]
-     rw [ih v rest h.1]
-    simp only [length_append_sub, ↓reduceIte]
-[    rw [ih v rest h.1]
-    simp only [length_append_sub, ↓reduceIte]
-b    rw [ih v rest h.1]
-    simp only [length_append_sub, ↓reduceIte]
-y    rw [ih v rest h.1]
-    simp only [length_append_sub, ↓reduceIte]
-t    rw [ih v rest h.1]
-    simp only [length_append_sub, ↓reduceIte]
-e    rw [ih v rest h.1]
-    simp only [length_append_sub, ↓reduceIte]
-s    rw [ih v rest h.1]
-    simp only [length_append_sub, ↓reduceIte]
-O    rw [ih v rest h.1]
-    simp only [length_append_sub, ↓reduceIte]
-f    rw [ih v rest h.1]
-    simp only [length_append_sub, ↓reduceIte]
-]    rw [ih v rest h.1]
-    simp only [length_append_sub, ↓reduceIte]
-
-    rw [ih v rest h.1]
-    simp only [length_append_sub, ↓reduceIte]
-
-    rw [ih v rest h.1]
-    simp only [length_append_sub, ↓reduceIte]
-t    rw [ih v rest h.1]
-    simp only [length_append_sub, ↓reduceIte]
-h    rw [ih v rest h.1]
-    simp only [length_append_sub, ↓reduceIte]
-e    rw [ih v rest h.1]
-    simp only [length_append_sub, ↓reduceIte]
-o    rw [ih v rest h.1]
-    simp only [length_append_sub, ↓reduceIte]
-r    rw [ih v rest h.1]
-    simp only [length_append_sub, ↓reduceIte]
-e    rw [ih v rest h.1]
-    simp only [length_append_sub, ↓reduceIte]
-m    rw [ih v rest h.1]
-    simp only [length_append_sub, ↓reduceIte]
-     rw [ih v rest h.1]
-    simp only [length_append_sub, ↓reduceIte]
-a    rw [ih v rest h.1]
-    simp only [length_append_sub, ↓reduceIte]
-l    rw [ih v rest h.1]
-    simp only [length_append_sub, ↓reduceIte]
-l    rw [ih v rest h.1]
-    simp only [length_append_sub, ↓reduceIte]
-I    rw [ih v rest h.1]
-    simp only [length_append_sub, ↓reduceIte]
-n    rw [ih v rest h.1]
-    simp only [length_append_sub, ↓reduceIte]
-t    rw [ih v rest h.1]
-    simp only [length_append_sub, ↓reduceIte]
-_    rw [ih v rest h.1]
-    simp only [length_append_sub, ↓reduceIte]
-s    rw [ih v rest h.1]
-    simp only [length_append_sub, ↓reduceIte]
-p    rw [ih v rest h.1]
-    simp only [length_append_sub, ↓reduceIte]
-e    rw [ih v rest h.1]
-    simp only [length_append_sub, ↓reduceIte]
-c    rw [ih v rest h.1]
-    simp only [length_append_sub, ↓reduceIte]
-     rw [ih v rest h.1]
-    simp only [length_append_sub, ↓reduceIte]
-(    rw [ih v rest h.1]
-    simp only [length_append_sub, ↓reduceIte]
-n    rw [ih v rest h.1]
-    simp only [length_append_sub, ↓reduceIte]
-     rw [ih v rest h.1]
-    simp only [length_append_sub, ↓reduceIte]
-:    rw [ih v rest h.1]
-    simp only [length_append_sub, ↓reduceIte]
-     rw [ih v rest h.1]
-    simp only [length_append_sub, ↓reduceIte]
-N    rw [ih v rest h.1]
-    simp only [length_append_sub, ↓reduceIte]
-a    rw [ih v rest h.1]
-    simp only [length_append_sub, ↓reduceIte]
-t    rw [ih v rest h.1]
-    simp only [length_append_sub, ↓reduceIte]
-)    rw [ih v rest h.1]
-    simp only [length_append_sub, ↓reduceIte]
-     rw [ih v rest h.1]
-    simp only [length_append_sub, ↓reduceIte]
-(    rw [ih v rest h.1]
-    simp only [length_append_sub, ↓reduceIte]
-v    rw [ih v rest h.1]
-    simp only [length_append_sub, ↓reduceIte]
-s    rw [ih v rest h.1]
-    simp only [length_append_sub, ↓reduceIte]
-     rw [ih v rest h.1]
-    simp only [length_append_sub, ↓reduceIte]
-:    rw [ih v rest h.1]
-    simp only [length_append_sub, ↓reduceIte]
-     rw [ih v rest h.1]
-    simp only [length_append_sub, ↓reduceIte]
-L    rw [ih v rest h.1]
-    simp only [length_append_sub, ↓reduceIte]
-i    rw [ih v rest h.1]
-    simp only [length_append_sub, ↓reduceIte]
-s    rw [ih v rest h.1]
-    simp only [length_append_sub, ↓reduceIte]
-t    rw [ih v rest h.1]
-    simp only [length_append_sub, ↓reduceIte]
-     rw [ih v rest h.1]
-    simp only [length_append_sub, ↓reduceIte]
-V    rw [ih v rest h.1]
-    simp only [length_append_sub, ↓reduceIte]
-a    rw [ih v rest h.1]
-    simp only [length_append_sub, ↓reduceIte]
-l    rw [ih v rest h.1]
-    simp only [length_append_sub, ↓reduceIte]
-)    rw [ih v rest h.1]
-    simp only [length_append_sub, ↓reduceIte]
-     rw [ih v rest h.1]
-    simp only [length_append_sub, ↓reduceIte]
-(    rw [ih v rest h.1]
-    simp only [length_append_sub, ↓reduceIte]
-h    rw [ih v rest h.1]
-    simp only [length_append_sub, ↓reduceIte]
-     rw [ih v rest h.1]
-    simp only [length_append_sub, ↓reduceIte]
-:    rw [ih v rest h.1]
-    simp only [length_append_sub, ↓reduceIte]
-     rw [ih v rest h.1]
-    simp only [length_append_sub, ↓reduceIte]
-a    rw [ih v rest h.1]
-    simp only [length_append_sub, ↓reduceIte]
-l    rw [ih v rest h.1]
-    simp only [length_append_sub, ↓reduceIte]
-l    rw [ih v rest h.1]
-    simp only [length_append_sub, ↓reduceIte]
-I    rw [ih v rest h.1]
-    simp only [length_append_sub, ↓reduceIte]
-n    rw [ih v rest h.1]
-    simp only [length_append_sub, ↓reduceIte]
-t    rw [ih v rest h.1]
-    simp only [length_append_sub, ↓reduceIte]
-     rw [ih v rest h.1]
-    simp only [length_append_sub, ↓reduceIte]
-n    rw [ih v rest h.1]
-    simp only [length_append_sub, ↓reduceIte]
-     rw [ih v rest h.1]
-    simp only [length_append_sub, ↓reduceIte]
-v    rw [ih v rest h.1]
-    simp only [length_append_sub, ↓reduceIte]
-s    rw [ih v rest h.1]
-    simp only [length_append_sub, ↓reduceIte]
-     rw [ih v rest h.1]
-    simp only [length_append_sub, ↓reduceIte]
-=    rw [ih v rest h.1]
-    simp only [length_append_sub, ↓reduceIte]
-     rw [ih v rest h.1]
-    simp only [length_append_sub, ↓reduceIte]
-t    rw [ih v rest h.1]
-    simp only [length_append_sub, ↓reduceIte]
-r    rw [ih v rest h.1]
-    simp only [length_append_sub, ↓reduceIte]
-u    rw [ih v rest h.1]
-    simp only [length_append_sub, ↓reduceIte]
-e    rw [ih v rest h.1]
-    simp only [length_append_sub, ↓reduceIte]
-)    rw [ih v rest h.1]
-    simp only [length_append_sub, ↓reduceIte]
-     rw [ih v rest h.1]
-    simp only [length_append_sub, ↓reduceIte]
-:    rw [ih v rest h.1]
-    simp only [length_append_sub, ↓reduceIte]
-
-    rw [ih v rest h.1]
-    simp only [length_append_sub, ↓reduceIte]
-     rw [ih v rest h.1]
-    simp only [length_append_sub, ↓reduceIte]
-     rw [ih v rest h.1]
-    simp only [length_append_sub, ↓reduceIte]
-     rw [ih v rest h.1]
-    simp only [length_append_sub, ↓reduceIte]
-     rw [ih v rest h.1]
-    simp only [length_append_sub, ↓reduceIte]
-(    rw [ih v rest h.1]
-    simp only [length_append_sub, ↓reduceIte]
-i    rw [ih v rest h.1]
-    simp only [length_append_sub, ↓reduceIte]
-n    rw [ih v rest h.1]
-    simp only [length_append_sub, ↓reduceIte]
-t    rw [ih v rest h.1]
-    simp only [length_append_sub, ↓reduceIte]
-s    rw [ih v rest h.1]
-    simp only [length_append_sub, ↓reduceIte]
-O    rw [ih v rest h.1]
-    simp only [length_append_sub, ↓reduceIte]
-f    rw [ih v rest h.1]
-    simp only [length_append_sub, ↓reduceIte]
-     rw [ih v rest h.1]
-    simp only [length_append_sub, ↓reduceIte]
-v    rw [ih v rest h.1]
-    simp only [length_append_sub, ↓reduceIte]
-s    rw [ih v rest h.1]
-    simp only [length_append_sub, ↓reduceIte]
-)    rw [ih v rest h.1]
-    simp only [length_append_sub, ↓reduceIte]
-.    rw [ih v rest h.1]
-    simp only [length_append_sub, ↓reduceIte]
-m    rw [ih v rest h.1]
-    simp only [length_append_sub, ↓reduceIte]
-a    rw [ih v rest h.1]
-    simp only [length_append_sub, ↓reduceIte]
-p    rw [ih v rest h.1]
-    simp only [length_append_sub, ↓reduceIte]
-     rw [ih v rest h.1]
-    simp only [length_append_sub, ↓reduceIte]
-V    rw [ih v rest h.1]
-    simp only [length_append_sub, ↓reduceIte]
-a    rw [ih v rest h.1]
-    simp only [length_append_sub, ↓reduceIte]
-l    rw [ih v rest h.1]
-    simp only [length_append_sub, ↓reduceIte]
-.    rw [ih v rest h.1]
-    simp only [length_append_sub, ↓reduceIte]
-i    rw [ih v rest h.1]
-    simp only [length_append_sub, ↓reduceIte]
-n    rw [ih v rest h.1]
-    simp only [length_append_sub, ↓reduceIte]
-t    rw [ih v rest h.1]
-    simp only [length_append_sub, ↓reduceIte]
-     rw [ih v rest h.1]
-    simp only [length_append_sub, ↓reduceIte]
-=    rw [ih v rest h.1]
-    simp only [length_append_sub, ↓reduceIte]
-     rw [ih v rest h.1]
-    simp only [length_append_sub, ↓reduceIte]
-v    rw [ih v rest h.1]
-    simp only [length_append_sub, ↓reduceIte]
-s    rw [ih v rest h.1]
-    simp only [length_append_sub, ↓reduceIte]
-     rw [ih v rest h.1]
-    simp only [length_append_sub, ↓reduceIte]
-∧    rw [ih v rest h.1]
-    simp only [length_append_sub, ↓reduceIte]
-     rw [ih v rest h.1]
-    simp only [length_append_sub, ↓reduceIte]
-∀    rw [ih v rest h.1]
-    simp only [length_append_sub, ↓reduceIte]
-     rw [ih v rest h.1]
-    simp only [length_append_sub, ↓reduceIte]
-x    rw [ih v rest h.1]
-    simp only [length_append_sub, ↓reduceIte]
-     rw [ih v rest h.1]
-    simp only [length_append_sub, ↓reduceIte]
-∈    rw [ih v rest h.1]
-    simp only [length_append_sub, ↓reduceIte]
-     rw [ih v rest h.1]
-    simp only [length_append_sub, ↓reduceIte]
-i    rw [ih v rest h.1]
-    simp only [length_append_sub, ↓reduceIte]
-n    rw [ih v rest h.1]
-    simp only [length_append_sub, ↓reduceIte]
-t    rw [ih v rest h.1]
-    simp only [length_append_sub, ↓reduceIte]
-s    rw [ih v rest h.1]
-    simp only [length_append_sub, ↓reduceIte]
-O    rw [ih v rest h.1]
-    simp only [length_append_sub, ↓reduceIte]
-f    rw [ih v rest h.1]
-    simp only [length_append_sub, ↓reduceIte]
-     rw [ih v rest h.1]
-    simp only [length_append_sub, ↓reduceIte]
-v    rw [ih v rest h.1]
-    simp only [length_append_sub, ↓reduceIte]
-s    rw [ih v rest h.1]
-    simp only [length_append_sub, ↓reduceIte]
-,    rw [ih v rest h.1]
-    simp only [length_append_sub, ↓reduceIte]
-     rw [ih v rest h.1]
-    simp only [length_append_sub, ↓reduceIte]
-I    rw [ih v rest h.1]
-    simp only [length_append_sub, ↓reduceIte]
-n    rw [ih v rest h.1]
-    simp only [length_append_sub, ↓reduceIte]
-I    rw [ih v rest h.1]
-    simp only [length_append_sub, ↓reduceIte]
-n    rw [ih v rest h.1]
-    simp only [length_append_sub, ↓reduceIte]
-t    rw [ih v rest h.1]
-    simp only [length_append_sub, ↓reduceIte]
-     rw [ih v rest h.1]
-    simp only [length_append_sub, ↓reduceIte]
-n    rw [ih v rest h.1]
-    simp only [length_append_sub, ↓reduceIte]
-     rw [ih v rest h.1]
-    simp only [length_append_sub, ↓reduceIte]
-x    rw [ih v rest h.1]
-    simp only [length_append_sub, ↓reduceIte]
-     rw [ih v rest h.1]
-    simp only [length_append_sub, ↓reduceIte]
-:    rw [ih v rest h.1]
-    simp only [length_append_sub, ↓reduceIte]
-=    rw [ih v rest h.1]
-    simp only [length_append_sub, ↓reduceIte]
-     rw [ih v rest h.1]
-    simp only [length_append_sub, ↓reduceIte]
-b    rw [ih v rest h.1]
-    simp only [length_append_sub, ↓reduceIte]
-y    rw [ih v rest h.1]
-    simp only [length_append_sub, ↓reduceIte]
-
-    rw [ih v rest h.1]
-    simp only [length_append_sub, ↓reduceIte]
-     rw [ih v rest h.1]
-    simp only [length_append_sub, ↓reduceIte]
-     rw [ih v rest h.1]
-    simp only [length_append_sub, ↓reduceIte]
-i    rw [ih v rest h.1]
-    simp only [length_append_sub, ↓reduceIte]
-n    rw [ih v rest h.1]
-    simp only [length_append_sub, ↓reduceIte]
-d    rw [ih v rest h.1]
-    simp only [length_append_sub, ↓reduceIte]
-u    rw [ih v rest h.1]
-    simp only [length_append_sub, ↓reduceIte]
-c    rw [ih v rest h.1]
-    simp only [length_append_sub, ↓reduceIte]
-t    rw [ih v rest h.1]
-    simp only [length_append_sub, ↓reduceIte]
-i    rw [ih v rest h.1]
-    simp only [length_append_sub, ↓reduceIte]
-o    rw [ih v rest h.1]
-    simp only [length_append_sub, ↓reduceIte]
-n    rw [ih v rest h.1]
-    simp only [length_append_sub, ↓reduceIte]
-     rw [ih v rest h.1]
-    simp only [length_append_sub, ↓reduceIte]
-v    rw [ih v rest h.1]
-    simp only [length_append_sub, ↓reduceIte]
-s    rw [ih v rest h.1]
-    simp only [length_append_sub, ↓reduceIte]
-     rw [ih v rest h.1]
-    simp only [length_append_sub, ↓reduceIte]
-w    rw [ih v rest h.1]
-    simp only [length_append_sub, ↓reduceIte]
-i    rw [ih v rest h.1]
-    simp only [length_append_sub, ↓reduceIte]
-t    rw [ih v rest h.1]
-    simp only [length_append_sub, ↓reduceIte]
-h    rw [ih v rest h.1]
-    simp only [length_append_sub, ↓reduceIte]
-
-    rw [ih v rest h.1]
-    simp only [length_append_sub, ↓reduceIte]
-     rw [ih v rest h.1]
-    simp only [length_append_sub, ↓reduceIte]
-     rw [ih v rest h.1]
-    simp only [length_append_sub, ↓reduceIte]
-|    rw [ih v rest h.1]
-    simp only [length_append_sub, ↓reduceIte]
-     rw [ih v rest h.1]
-    simp only [length_append_sub, ↓reduceIte]
-n    rw [ih v rest h.1]
-    simp only [length_append_sub, ↓reduceIte]
-i    rw [ih v rest h.1]
-    simp only [length_append_sub, ↓reduceIte]
-l    rw [ih v rest h.1]
-    simp only [length_append_sub, ↓reduceIte]
-     rw [ih v rest h.1]
-    simp only [length_append_sub, ↓reduceIte]
-=    rw [ih v rest h.1]
-    simp only [length_append_sub, ↓reduceIte]
->    rw [ih v rest h.1]
-    simp only [length_append_sub, ↓reduceIte]
-     rw [ih v rest h.1]
-    simp only [length_append_sub, ↓reduceIte]
-s    rw [ih v rest h.1]
-    simp only [length_append_sub, ↓reduceIte]
-i    rw [ih v rest h.1]
-    simp only [length_append_sub, ↓reduceIte]
-m    rw [ih v rest h.1]
-    simp only [length_append_sub, ↓reduceIte]
-p    rw [ih v rest h.1]
-    simp only [length_append_sub, ↓reduceIte]
-     rw [ih v rest h.1]
-    simp only [length_append_sub, ↓reduceIte]
-[    rw [ih v rest h.1]
-    simp only [length_append_sub, ↓reduceIte]
-i    rw [ih v rest h.1]
-    simp only [length_append_sub, ↓reduceIte]
-n    rw [ih v rest h.1]
-    simp only [length_append_sub, ↓reduceIte]
-t    rw [ih v rest h.1]
-    simp only [length_append_sub, ↓reduceIte]
-s    rw [ih v rest h.1]
-    simp only [length_append_sub, ↓reduceIte]
-O    rw [ih v rest h.1]
-    simp only [length_append_sub, ↓reduceIte]
-f    rw [ih v rest h.1]
-    simp only [length_append_sub, ↓reduceIte]
-]    rw [ih v rest h.1]
-    simp only [length_append_sub, ↓reduceIte]
-
-    rw [ih v rest h.1]
-    simp only [length_append_sub, ↓reduceIte]
-     rw [ih v rest h.1]
-    simp only [length_append_sub, ↓reduceIte]
-     rw [ih v rest h.1]
-    simp only [length_append_sub, ↓reduceIte]
-|    rw [ih v rest h.1]
-    simp only [length_append_sub, ↓reduceIte]
-     rw [ih v rest h.1]
-    simp only [length_append_sub, ↓reduceIte]
-c    rw [ih v rest h.1]
-    simp only [length_append_sub, ↓reduceIte]
-o    rw [ih v rest h.1]
-    simp only [length_append_sub, ↓reduceIte]
-n    rw [ih v rest h.1]
-    simp only [length_append_sub, ↓reduceIte]
-s    rw [ih v rest h.1]
-    simp only [length_append_sub, ↓reduceIte]
-     rw [ih v rest h.1]
-    simp only [length_append_sub, ↓reduceIte]
-v    rw [ih v rest h.1]
-    simp only [length_append_sub, ↓reduceIte]
-     rw [ih v rest h.1]
-    simp only [length_append_sub, ↓reduceIte]
-v    rw [ih v rest h.1]
-    simp only [length_append_sub, ↓reduceIte]
-s    rw [ih v rest h.1]
-    simp only [length_append_sub, ↓reduceIte]
-     rw [ih v rest h.1]
-    simp only [length_append_sub, ↓reduceIte]
-i    rw [ih v rest h.1]
-    simp only [length_append_sub, ↓reduceIte]
-h    rw [ih v rest h.1]
-    simp only [length_append_sub, ↓reduceIte]
-     rw [ih v rest h.1]
-    simp only [length_append_sub, ↓reduceIte]
-=    rw [ih v rest h.1]
-    simp only [length_append_sub, ↓reduceIte]
->    rw [ih v rest h.1]
-    simp only [length_append_sub, ↓reduceIte]
-
-    rw [ih v rest h.1]
-    simp only [length_append_sub, ↓reduceIte]
-     rw [ih v rest h.1]
-    simp only [length_append_sub, ↓reduceIte]
-     rw [ih v rest h.1]
-    simp only [length_append_sub, ↓reduceIte]
-     rw [ih v rest h.1]
-    simp only [length_append_sub, ↓reduceIte]
-     rw [ih v rest h.1]
-    simp only [length_append_sub, ↓reduceIte]
-c    rw [ih v rest h.1]
-    simp only [length_append_sub, ↓reduceIte]
-a    rw [ih v rest h.1]
-    simp only [length_append_sub, ↓reduceIte]
-s    rw [ih v rest h.1]
-    simp only [length_append_sub, ↓reduceIte]
-e    rw [ih v rest h.1]
-    simp only [length_append_sub, ↓reduceIte]
-s    rw [ih v rest h.1]
-    simp only [length_append_sub, ↓reduceIte]
-     rw [ih v rest h.1]
-    simp only [length_append_sub, ↓reduceIte]
-v    rw [ih v rest h.1]
-    simp only [length_append_sub, ↓reduceIte]
-     rw [ih v rest h.1]
-    simp only [length_append_sub, ↓reduceIte]
-w    rw [ih v rest h.1]
-    simp only [length_append_sub, ↓reduceIte]
-i    rw [ih v rest h.1]
-    simp only [length_append_sub, ↓reduceIte]
-t    rw [ih v rest h.1]
-    simp only [length_append_sub, ↓reduceIte]
-h    rw [ih v rest h.1]
-    simp only [length_append_sub, ↓reduceIte]
-
-    rw [ih v rest h.1]
-    simp only [length_append_sub, ↓reduceIte]
-     rw [ih v rest h.1]
-    simp only [length_append_sub, ↓reduceIte]
-     rw [ih v rest h.1]
-    simp only [length_append_sub, ↓reduceIte]
-     rw [ih v rest h.1]
-    simp only [length_append_sub, ↓reduceIte]
-     rw [ih v rest h.1]
-    simp only [length_append_sub, ↓reduceIte]
-|    rw [ih v rest h.1]
-    simp only [length_append_sub, ↓reduceIte]
-     rw [ih v rest h.1]
-    simp only [length_append_sub, ↓reduceIte]
-i    rw [ih v rest h.1]
-    simp only [length_append_sub, ↓reduceIte]
-n    rw [ih v rest h.1]
-    simp only [length_append_sub, ↓reduceIte]
-t    rw [ih v rest h.1]
-    simp only [length_append_sub, ↓reduceIte]
-     rw [ih v rest h.1]
-    simp only [length_append_sub, ↓reduceIte]
-i    rw [ih v rest h.1]
-    simp only [length_append_sub, ↓reduceIte]
-     rw [ih v rest h.1]
-    simp only [length_append_sub, ↓reduceIte]
-=    rw [ih v rest h.1]
-    simp only [length_append_sub, ↓reduceIte]
->    rw [ih v rest h.1]
-    simp only [length_append_sub, ↓reduceIte]
-
-    rw [ih v rest h.1]
-    simp only [length_append_sub, ↓reduceIte]
-     rw [ih v rest h.1]
-    simp only [length_append_sub, ↓reduceIte]
-     rw [ih v rest h.1]
-    simp only [length_append_sub, ↓reduceIte]
-     rw [ih v rest h.1]
-    simp only [length_append_sub, ↓reduceIte]
-     rw [ih v rest h.1]
-    simp only [length_append_sub, ↓reduceIte]
-     rw [ih v rest h.1]
-    simp only [length_append_sub, ↓reduceIte]
-     rw [ih v rest h.1]
-    simp only [length_append_sub, ↓reduceIte]
-s    rw [ih v rest h.1]
-    simp only [length_append_sub, ↓reduceIte]
-i    rw [ih v rest h.1]
-    simp only [length_append_sub, ↓reduceIte]
-m    rw [ih v rest h.1]
-    simp only [length_append_sub, ↓reduceIte]
-p    rw [ih v rest h.1]
-    simp only [length_append_sub, ↓reduceIte]
-     rw [ih v rest h.1]
-    simp only [length_append_sub, ↓reduceIte]
-o    rw [ih v rest h.1]
-    simp only [length_append_sub, ↓reduceIte]
-n    rw [ih v rest h.1]
-    simp only [length_append_sub, ↓reduceIte]
-l    rw [ih v rest h.1]
-    simp only [length_append_sub, ↓reduceIte]
-y    rw [ih v rest h.1]
-    simp only [length_append_sub, ↓reduceIte]
-     rw [ih v rest h.1]
-    simp only [length_append_sub, ↓reduceIte]
-[    rw [ih v rest h.1]
-    simp only [length_append_sub, ↓reduceIte]
-a    rw [ih v rest h.1]
-    simp only [length_append_sub, ↓reduceIte]
-l    rw [ih v rest h.1]
-    simp only [length_append_sub, ↓reduceIte]
-l    rw [ih v rest h.1]
-    simp only [length_append_sub, ↓reduceIte]
-I    rw [ih v rest h.1]
-    simp only [length_append_sub, ↓reduceIte]
-n    rw [ih v rest h.1]
-    simp only [length_append_sub, ↓reduceIte]
-t    rw [ih v rest h.1]
-    simp only [length_append_sub, ↓reduceIte]
-,    rw [ih v rest h.1]
-    simp only [length_append_sub, ↓reduceIte]
-     rw [ih v rest h.1]
-    simp only [length_append_sub, ↓reduceIte]
-B    rw [ih v rest h.1]
-    simp only [length_append_sub, ↓reduceIte]
-o    rw [ih v rest h.1]
-    simp only [length_append_sub, ↓reduceIte]
-o    rw [ih v rest h.1]
-    simp only [length_append_sub, ↓reduceIte]
-l    rw [ih v rest h.1]
-    simp only [length_append_sub, ↓reduceIte]
-.    rw [ih v rest h.1]
-    simp only [length_append_sub, ↓reduceIte]
-a    rw [ih v rest h.1]
-    simp only [length_append_sub, ↓reduceIte]
-n    rw [ih v rest h.1]
-    simp only [length_append_sub, ↓reduceIte]
-d    rw [ih v rest h.1]
-    simp only [length_append_sub, ↓reduceIte]
-_    rw [ih v rest h.1]
-    simp only [length_append_sub, ↓reduceIte]
-e    rw [ih v rest h.1]
-    simp only [length_append_sub, ↓reduceIte]
-q    rw [ih v rest h.1]
-    simp only [length_append_sub, ↓reduceIte]
-_    rw [ih v rest h.1]
-    simp only [length_append_sub, ↓reduceIte]
-t    rw [ih v rest h.1]
-    simp only [length_append_sub, ↓reduceIte]
-r    rw [ih v rest h.1]
-    simp only [length_append_sub, ↓reduceIte]
-u    rw [ih v rest h.1]
-    simp only [length_append_sub, ↓reduceIte]
-e    rw [ih v rest h.1]
-    simp only [length_append_sub, ↓reduceIte]
-,    rw [ih v rest h.1]
-    simp only [length_append_sub, ↓reduceIte]
-     rw [ih v rest h.1]
-    simp only [length_append_sub, ↓reduceIte]
-d    rw [ih v rest h.1]
-    simp only [length_append_sub, ↓reduceIte]
-e    rw [ih v rest h.1]
-    simp only [length_append_sub, ↓reduceIte]
-c    rw [ih v rest h.1]
-    simp only [length_append_sub, ↓reduceIte]
-i    rw [ih v rest h.1]
-    simp only [length_append_sub, ↓reduceIte]
-d    rw [ih v rest h.1]
-    simp only [length_append_sub, ↓reduceIte]
-e    rw [ih v rest h.1]
-    simp only [length_append_sub, ↓reduceIte]
-_    rw [ih v rest h.1]
-    simp only [length_append_sub, ↓reduceIte]
-e    rw [ih v rest h.1]
-    simp only [length_append_sub, ↓reduceIte]
-q    rw [ih v rest h.1]
-    simp only [length_append_sub, ↓reduceIte]
-_    rw [ih v rest h.1]
-    simp only [length_append_sub, ↓reduceIte]
-t    rw [ih v rest h.1]
-    simp only [length_append_sub, ↓reduceIte]
-r    rw [ih v rest h.1]
-    simp only [length_append_sub, ↓reduceIte]
-u    rw [ih v rest h.1]
-    simp only [length_append_sub, ↓reduceIte]
-e    rw [ih v rest h.1]
-    simp only [length_append_sub, ↓reduceIte]
-_    rw [ih v rest h.1]
-    simp only [length_append_sub, ↓reduceIte]
-e    rw [ih v rest h.1]
-    simp only [length_append_sub, ↓reduceIte]
-q    rw [ih v rest h.1]
-    simp only [length_append_sub, ↓reduceIte]
-]    rw [ih v rest h.1]
-    simp only [length_append_sub, ↓reduceIte]
-     rw [ih v rest h.1]
-    simp only [length_append_sub, ↓reduceIte]
-a    rw [ih v rest h.1]
-    simp only [length_append_sub, ↓reduceIte]
-t    rw [ih v rest h.1]
-    simp only [length_append_sub, ↓reduceIte]
-     rw [ih v rest h.1]
-    simp only [length_append_sub, ↓reduceIte]
-h    rw [ih v rest h.1]
-    simp only [length_append_sub, ↓reduceIte]
-
-    rw [ih v rest h.1]
-    simp only [length_append_sub, ↓reduceIte]
-     rw [ih v rest h.1]
-    simp only [length_append_sub, ↓reduceIte]
-     rw [ih v rest h.1]
-    simp only [length_append_sub, ↓reduceIte]
-     rw [ih v rest h.1]
-    simp only [length_append_sub, ↓reduceIte]
-     rw [ih v rest h.1]
-    simp only [length_append_sub, ↓reduceIte]
-     rw [ih v rest h.1]
-    simp only [length_append_sub, ↓reduceIte]
-     rw [ih v rest h.1]
-    simp only [length_append_sub, ↓reduceIte]
-h    rw [ih v rest h.1]
-    simp only [length_append_sub, ↓reduceIte]
-a    rw [ih v rest h.1]
-    simp only [length_append_sub, ↓reduceIte]
-v    rw [ih v rest h.1]
-    simp only [length_append_sub, ↓reduceIte]
-e    rw [ih v rest h.1]
-    simp only [length_append_sub, ↓reduceIte]
-     rw [ih v rest h.1]
-    simp only [length_append_sub, ↓reduceIte]
-:    rw [ih v rest h.1]
-    simp only [length_append_sub, ↓reduceIte]
-=    rw [ih v rest h.1]
-    simp only [length_append_sub, ↓reduceIte]
-     rw [ih v rest h.1]
-    simp only [length_append_sub, ↓reduceIte]
-i    rw [ih v rest h.1]
-    simp only [length_append_sub, ↓reduceIte]
-h    rw [ih v rest h.1]
-    simp only [length_append_sub, ↓reduceIte]
-     rw [ih v rest h.1]
-    simp only [length_append_sub, ↓reduceIte]
-h    rw [ih v rest h.1]
-    simp only [length_append_sub, ↓reduceIte]
-.    rw [ih v rest h.1]
-    simp only [length_append_sub, ↓reduceIte]
-2    rw [ih v rest h.1]
-    simp only [length_append_sub, ↓reduceIte]
-
-    rw [ih v rest h.1]
-    simp only [length_append_sub, ↓reduceIte]
-     rw [ih v rest h.1]
-    simp only [length_append_sub, ↓reduceIte]
-     rw [ih v rest h.1]
-    simp only [length_append_sub, ↓reduceIte]
-     rw [ih v rest h.1]
-    simp only [length_append_sub, ↓reduceIte]
-     rw [ih v rest h.1]
-    simp only [length_append_sub, ↓reduceIte]
-     rw [ih v rest h.1]
-    simp only [length_append_sub, ↓reduceIte]
-     rw [ih v rest h.1]
-    simp only [length_append_sub, ↓reduceIte]
-c    rw [ih v rest h.1]
-    simp only [length_append_sub, ↓reduceIte]
-o    rw [ih v rest h.1]
-    simp only [length_append_sub, ↓reduceIte]
-n    rw [ih v rest h.1]
-    simp only [length_append_sub, ↓reduceIte]
-s    rw [ih v rest h.1]
-    simp only [length_append_sub, ↓reduceIte]
-t    rw [ih v rest h.1]
-    simp only [length_append_sub, ↓reduceIte]
-r    rw [ih v rest h.1]
-    simp only [length_append_sub, ↓reduceIte]
-u    rw [ih v rest h.1]
-    simp only [length_append_sub, ↓reduceIte]
-c    rw [ih v rest h.1]
-    simp only [length_append_sub, ↓reduceIte]
-t    rw [ih v rest h.1]
-    simp only [length_append_sub, ↓reduceIte]
-o    rw [ih v rest h.1]
-    simp only [length_append_sub, ↓reduceIte]
-r    rw [ih v rest h.1]
-    simp only [length_append_sub, ↓reduceIte]
-
-    rw [ih v rest h.1]
-    simp only [length_append_sub, ↓reduceIte]
-     rw [ih v rest h.1]
-    simp only [length_append_sub, ↓reduceIte]
-     rw [ih v rest h.1]
-    simp only [length_append_sub, ↓reduceIte]
-     rw [ih v rest h.1]
-    simp only [length_append_sub, ↓reduceIte]
-     rw [ih v rest h.1]
-    simp only [length_append_sub, ↓reduceIte]
-     rw [ih v rest h.1]
-    simp only [length_append_sub, ↓reduceIte]
-     rw [ih v rest h.1]
-    simp only [length_append_sub, ↓reduceIte]
-·    rw [ih v rest h.1]
-    simp only [length_append_sub, ↓reduceIte]
-     rw [ih v rest h.1]
-    simp only [length_append_sub, ↓reduceIte]
-s    rw [ih v rest h.1]
-    simp only [length_append_sub, ↓reduceIte]
-i    rw [ih v rest h.1]
-    simp only [length_append_sub, ↓reduceIte]
-m    rw [ih v rest h.1]
-    simp only [length_append_sub, ↓reduceIte]
-p    rw [ih v rest h.1]
-    simp only [length_append_sub, ↓reduceIte]
-     rw [ih v rest h.1]
-    simp only [length_append_sub, ↓reduceIte]
-o    rw [ih v rest h.1]
-    simp only [length_append_sub, ↓reduceIte]
-n    rw [ih v rest h.1]
-    simp only [length_append_sub, ↓reduceIte]
-l    rw [ih v rest h.1]
-    simp only [length_append_sub, ↓reduceIte]
-y    rw [ih v rest h.1]
-    simp only [length_append_sub, ↓reduceIte]
-     rw [ih v rest h.1]
-    simp only [length_append_sub, ↓reduceIte]
-[    rw [ih v rest h.1]
-    simp only [length_append_sub, ↓reduceIte]
-i    rw [ih v rest h.1]
-    simp only [length_append_sub, ↓reduceIte]
-n    rw [ih v rest h.1]
-    simp only [length_append_sub, ↓reduceIte]
-t    rw [ih v rest h.1]
-    simp only [length_append_sub, ↓reduceIte]
-s    rw [ih v rest h.1]
-    simp only [length_append_sub, ↓reduceIte]
-O    rw [ih v rest h.1]
-    simp only [length_append_sub, ↓reduceIte]
-f    rw [ih v rest h.1]
-    simp only [length_append_sub, ↓reduceIte]
-,    rw [ih v rest h.1]
-    simp only [length_append_sub, ↓reduceIte]
-     rw [ih v rest h.1]
-    simp only [length_append_sub, ↓reduceIte]
-L    rw [ih v rest h.1]
-    simp only [length_append_sub, ↓reduceIte]
-i    rw [ih v rest h.1]
-    simp only [length_append_sub, ↓reduceIte]
-s    rw [ih v rest h.1]
-    simp only [length_append_sub, ↓reduceIte]
-t    rw [ih v rest h.1]
-    simp only [length_append_sub, ↓reduceIte]
-.    rw [ih v rest h.1]
-    simp only [length_append_sub, ↓reduceIte]
-m    rw [ih v rest h.1]
-    simp only [length_append_sub, ↓reduceIte]
-a    rw [ih v rest h.1]
-    simp only [length_append_sub, ↓reduceIte]
-p    rw [ih v rest h.1]
-    simp only [length_append_sub, ↓reduceIte]
-_    rw [ih v rest h.1]
-    simp only [length_append_sub, ↓reduceIte]
-c    rw [ih v rest h.1]
-    simp only [length_append_sub, ↓reduceIte]
-o    rw [ih v rest h.1]
-    simp only [length_append_sub, ↓reduceIte]
-n    rw [ih v rest h.1]
-    simp only [length_append_sub, ↓reduceIte]
-s    rw [ih v rest h.1]
-    simp only [length_append_sub, ↓reduceIte]
-,    rw [ih v rest h.1]
-    simp only [length_append_sub, ↓reduceIte]
-     rw [ih v rest h.1]
-    simp only [length_append_sub, ↓reduceIte]
-L    rw [ih v rest h.1]
-    simp only [length_append_sub, ↓reduceIte]
-i    rw [ih v rest h.1]
-    simp only [length_append_sub, ↓reduceIte]
-s    rw [ih v rest h.1]
-    simp only [length_append_sub, ↓reduceIte]
-t    rw [ih v rest h.1]
-    simp only [length_append_sub, ↓reduceIte]
-.    rw [ih v rest h.1]
-    simp only [length_append_sub, ↓reduceIte]
-m    rw [ih v rest h.1]
-    simp only [length_append_sub, ↓reduceIte]
-a    rw [ih v rest h.1]
-    simp only [length_append_sub, ↓reduceIte]
-p    rw [ih v rest h.1]
-    simp only [length_append_sub, ↓reduceIte]
-_    rw [ih v rest h.1]
-    simp only [length_append_sub, ↓reduceIte]
-m    rw [ih v rest h.1]
-    simp only [length_append_sub, ↓reduceIte]
-a    rw [ih v rest h.1]
-    simp only [length_append_sub, ↓reduceIte]
-p    rw [ih v rest h.1]
-    simp only [length_append_sub, ↓reduceIte]
-]    rw [ih v rest h.1]
-    simp only [length_append_sub, ↓reduceIte]
-     rw [ih v rest h.1]
-    simp only [length_append_sub, ↓reduceIte]
-a    rw [ih v rest h.1]
-    simp only [length_append_sub, ↓reduceIte]
-t    rw [ih v rest h.1]
-    simp only [length_append_sub, ↓reduceIte]
-     rw [ih v rest h.1]
-    simp only [length_append_sub, ↓reduceIte]
-*    rw [ih v rest h.1]
-    simp only [length_append_sub, ↓reduceIte]
-;    rw [ih v rest h.1]
-    simp only [length_append_sub, ↓reduceIte]
-     rw [ih v rest h.1]
-    simp only [length_append_sub, ↓reduceIte]
-r    rw [ih v rest h.1]
-    simp only [length_append_sub, ↓reduceIte]
-w    rw [ih v rest h.1]
-    simp only [length_append_sub, ↓reduceIte]
-     rw [ih v rest h.1]
-    simp only [length_append_sub, ↓reduceIte]
-[    rw [ih v rest h.1]
-    simp only [length_append_sub, ↓reduceIte]
-t    rw [ih v rest h.1]
-    simp only [length_append_sub, ↓reduceIte]
-h    rw [ih v rest h.1]
-    simp only [length_append_sub, ↓reduceIte]
-i    rw [ih v rest h.1]
-    simp only [length_append_sub, ↓reduceIte]
-s    rw [ih v rest h.1]
-    simp only [length_append_sub, ↓reduceIte]
-.    rw [ih v rest h.1]
-    simp only [length_append_sub, ↓reduceIte]
-1    rw [ih v rest h.1]
-    simp only [length_append_sub, ↓reduceIte]
-]    rw [ih v rest h.1]
-    simp only [length_append_sub, ↓reduceIte]
-
-    rw [ih v rest h.1]
-    simp only [length_append_sub, ↓reduceIte]
-     rw [ih v rest h.1]
-    simp only [length_append_sub, ↓reduceIte]
-     rw [ih v rest h.1]
-    simp only [length_append_sub, ↓reduceIte]
-     rw [ih v rest h.1]
-    simp only [length_append_sub, ↓reduceIte]
-     rw [ih v rest h.1]
-    simp only [length_append_sub, ↓reduceIte]
-     rw [ih v rest h.1]
-    simp only [length_append_sub, ↓reduceIte]
-     rw [ih v rest h.1]
-    simp only [length_append_sub, ↓reduceIte]
-·    rw [ih v rest h.1]
-    simp only [length_append_sub, ↓reduceIte]
-     rw [ih v rest h.1]
-    simp only [length_append_sub, ↓reduceIte]
-i    rw [ih v rest h.1]
-    simp only [length_append_sub, ↓reduceIte]
-n    rw [ih v rest h.1]
-    simp only [length_append_sub, ↓reduceIte]
-t    rw [ih v rest h.1]
-    simp only [length_append_sub, ↓reduceIte]
-r    rw [ih v rest h.1]
-    simp only [length_append_sub, ↓reduceIte]
-o    rw [ih v rest h.1]
-    simp only [length_append_sub, ↓reduceIte]
-     rw [ih v rest h.1]
-    simp only [length_append_sub, ↓reduceIte]
-x    rw [ih v rest h.1]
-    simp only [length_append_sub, ↓reduceIte]
-     rw [ih v rest h.1]
-    simp only [length_append_sub, ↓reduceIte]
-h    rw [ih v rest h.1]
-    simp only [length_append_sub, ↓reduceIte]
-x    rw [ih v rest h.1]
-    simp only [length_append_sub, ↓reduceIte]
-
-    rw [ih v rest h.1]
-    simp only [length_append_sub, ↓reduceIte]
-     rw [ih v rest h.1]
-    simp only [length_append_sub, ↓reduceIte]
-     rw [ih v rest h.1]
-    simp only [length_append_sub, ↓reduceIte]
-     rw [ih v rest h.1]
-    simp only [length_append_sub, ↓reduceIte]
-     rw [ih v rest h.1]
-    simp only [length_append_sub, ↓reduceIte]
-     rw [ih v rest h.1]
-    simp only [length_append_sub, ↓reduceIte]
-     rw [ih v rest h.1]
-    simp only [length_append_sub, ↓reduceIte]
-     rw [ih v rest h.1]
-    simp only [length_append_sub, ↓reduceIte]
-     rw [ih v rest h.1]
-    simp only [length_append_sub, ↓reduceIte]
-s    rw [ih v rest h.1]
-    simp only [length_append_sub, ↓reduceIte]
-i    rw [ih v rest h.1]
-    simp only [length_append_sub, ↓reduceIte]
-m    rw [ih v rest h.1]
-    simp only [length_append_sub, ↓reduceIte]
-p    rw [ih v rest h.1]
-    simp only [length_append_sub, ↓reduceIte]
-     rw [ih v rest h.1]
-    simp only [length_append_sub, ↓reduceIte]
-o    rw [ih v rest h.1]
-    simp only [length_append_sub, ↓reduceIte]
-n    rw [ih v rest h.1]
-    simp only [length_append_sub, ↓reduceIte]
-l    rw [ih v rest h.1]
-    simp only [length_append_sub, ↓reduceIte]
-y    rw [ih v rest h.1]
-    simp only [length_append_sub, ↓reduceIte]
-     rw [ih v rest h.1]
-    simp only [length_append_sub, ↓reduceIte]
-[    rw [ih v rest h.1]
-    simp only [length_append_sub, ↓reduceIte]
-i    rw [ih v rest h.1]
-    simp only [length_append_sub, ↓reduceIte]
-n    rw [ih v rest h.1]
-    simp only [length_append_sub, ↓reduceIte]
-t    rw [ih v rest h.1]
-    simp only [length_append_sub, ↓reduceIte]
-s    rw [ih v rest h.1]
-    simp only [length_append_sub, ↓reduceIte]
-O    rw [ih v rest h.1]
-    simp only [length_append_sub, ↓reduceIte]
-f    rw [ih v rest h.1]
-    simp only [length_append_sub, ↓reduceIte]
-,    rw [ih v rest h.1]
-    simp only [length_append_sub, ↓reduceIte]
-     rw [ih v rest h.1]
-    simp only [length_append_sub, ↓reduceIte]
-L    rw [ih v rest h.1]
-    simp only [length_append_sub, ↓reduceIte]
-i    rw [ih v rest h.1]
-    simp only [length_append_sub, ↓reduceIte]
-s    rw [ih v rest h.1]
-    simp only [length_append_sub, ↓reduceIte]
-t    rw [ih v rest h.1]
-    simp only [length_append_sub, ↓reduceIte]
-.    rw [ih v rest h.1]
-    simp only [length_append_sub, ↓reduceIte]
-m    rw [ih v rest h.1]
-    simp only [length_append_sub, ↓reduceIte]
-a    rw [ih v rest h.1]
-    simp only [length_append_sub, ↓reduceIte]
-p    rw [ih v rest h.1]
-    simp only [length_append_sub, ↓reduceIte]
-_    rw [ih v rest h.1]
-    simp only [length_append_sub, ↓reduceIte]
-c    rw [ih v rest h.1]
-    simp only [length_append_sub, ↓reduceIte]
-o    rw [ih v rest h.1]
-    simp only [length_append_sub, ↓reduceIte]
-n    rw [ih v rest h.1]
-    simp only [length_append_sub, ↓reduceIte]
-s    rw [ih v rest h.1]
-    simp only [length_append_sub, ↓reduceIte]
-,    rw [ih v rest h.1]
-    simp only [length_append_sub, ↓reduceIte]
-     rw [ih v rest h.1]
-    simp only [length_append_sub, ↓reduceIte]
-L    rw [ih v rest h.1]
-    simp only [length_append_sub, ↓reduceIte]
-i    rw [ih v rest h.1]
-    simp only [length_append_sub, ↓reduceIte]
-s    rw [ih v rest h.1]
-    simp only [length_append_sub, ↓reduceIte]
-t    rw [ih v rest h.1]
-    simp only [length_append_sub, ↓reduceIte]
-.    rw [ih v rest h.1]
-    simp only [length_append_sub, ↓reduceIte]
-m    rw [ih v rest h.1]
-    simp only [length_append_sub, ↓reduceIte]
-e    rw [ih v rest h.1]
-    simp only [length_append_sub, ↓reduceIte]
-m    rw [ih v rest h.1]
-    simp only [length_append_sub, ↓reduceIte]
-_    rw [ih v rest h.1]
-    simp only [length_append_sub, ↓reduceIte]
-c    rw [ih v rest h.1]
-    simp only [length_append_sub, ↓reduceIte]
-o    rw [ih v rest h.1]
-    simp only [length_append_sub, ↓reduceIte]
-n    rw [ih v rest h.1]
-    simp only [length_append_sub, ↓reduceIte]
-s    rw [ih v rest h.1]
-    simp only [length_append_sub, ↓reduceIte]
-]    rw [ih v rest h.1]
-    simp only [length_append_sub, ↓reduceIte]
-     rw [ih v rest h.1]
-    simp only [length_append_sub, ↓reduceIte]
-a    rw [ih v rest h.1]
-    simp only [length_append_sub, ↓reduceIte]
-t    rw [ih v rest h.1]
-    simp only [length_append_sub, ↓reduceIte]
-     rw [ih v rest h.1]
-    simp only [length_append_sub, ↓reduceIte]
-h    rw [ih v rest h.1]
-    simp only [length_append_sub, ↓reduceIte]
-x    rw [ih v rest h.1]
-    simp only [length_append_sub, ↓reduceIte]
-
-    rw [ih v rest h.1]
-    simp only [length_append_sub, ↓reduceIte]
-     rw [ih v rest h.1]
-    simp only [length_append_sub, ↓reduceIte]
-     rw [ih v rest h.1]
-    simp only [length_append_sub, ↓reduceIte]
-     rw [ih v rest h.1]
-    simp only [length_append_sub, ↓reduceIte]
-     rw [ih v rest h.1]
-    simp only [length_append_sub, ↓reduceIte]
-     rw [ih v rest h.1]
-    simp only [length_append_sub, ↓reduceIte]
-     rw [ih v rest h.1]
-    simp only [length_append_sub, ↓reduceIte]
-     rw [ih v rest h.1]
-    simp only [length_append_sub, ↓reduceIte]
-     rw [ih v rest h.1]
-    simp only [length_append_sub, ↓reduceIte]
-r    rw [ih v rest h.1]
-    simp only [length_append_sub, ↓reduceIte]
-c    rw [ih v rest h.1]
-    simp only [length_append_sub, ↓reduceIte]
-a    rw [ih v rest h.1]
-    simp only [length_append_sub, ↓reduceIte]
-s    rw [ih v rest h.1]
-    simp only [length_append_sub, ↓reduceIte]
-e    rw [ih v rest h.1]
-    simp only [length_append_sub, ↓reduceIte]
-s    rw [ih v rest h.1]
-    simp only [length_append_sub, ↓reduceIte]
-     rw [ih v rest h.1]
-    simp only [length_append_sub, ↓reduceIte]
-h    rw [ih v rest h.1]
-    simp only [length_append_sub, ↓reduceIte]
-x    rw [ih v rest h.1]
-    simp only [length_append_sub, ↓reduceIte]
-     rw [ih v rest h.1]
-    simp only [length_append_sub, ↓reduceIte]
-w    rw [ih v rest h.1]
-    simp only [length_append_sub, ↓reduceIte]
-i    rw [ih v rest h.1]
-    simp only [length_append_sub, ↓reduceIte]
-t    rw [ih v rest h.1]
-    simp only [length_append_sub, ↓reduceIte]
-h    rw [ih v rest h.1]
-    simp only [length_append_sub, ↓reduceIte]
-     rw [ih v rest h.1]
-    simp only [length_append_sub, ↓reduceIte]
-h    rw [ih v rest h.1]
-    simp only [length_append_sub, ↓reduceIte]
-x    rw [ih v rest h.1]
-    simp only [length_append_sub, ↓reduceIte]
-     rw [ih v rest h.1]
-    simp only [length_append_sub, ↓reduceIte]
-|    rw [ih v rest h.1]
-    simp only [length_append_sub, ↓reduceIte]
-     rw [ih v rest h.1]
-    simp only [length_append_sub, ↓reduceIte]
-h    rw [ih v rest h.1]
-    simp only [length_append_sub, ↓reduceIte]
-x    rw [ih v rest h.1]
-    simp only [length_append_sub, ↓reduceIte]
-
-    rw [ih v rest h.1]
-    simp only [length_append_sub, ↓reduceIte]
-     rw [ih v rest h.1]
-    simp only [length_append_sub, ↓reduceIte]
-     rw [ih v rest h.1]
-    simp only [length_append_sub, ↓reduceIte]
-     rw [ih v rest h.1]
-    simp only [length_append_sub, ↓reduceIte]
-     rw [ih v rest h.1]
-    simp only [length_append_sub, ↓reduceIte]
-     rw [ih v rest h.1]
-    simp only [length_append_sub, ↓reduceIte]
-     rw [ih v rest h.1]
-    simp only [length_append_sub, ↓reduceIte]
-     rw [ih v rest h.1]
-    simp only [length_append_sub, ↓reduceIte]
-     rw [ih v rest h.1]
-    simp only [length_append_sub, ↓reduceIte]
-·    rw [ih v rest h.1]
-    simp only [length_append_sub, ↓reduceIte]
-     rw [ih v rest h.1]
-    simp only [length_append_sub, ↓reduceIte]
-r    rw [ih v rest h.1]
-    simp only [length_append_sub, ↓reduceIte]
-w    rw [ih v rest h.1]
-    simp only [length_append_sub, ↓reduceIte]
-     rw [ih v rest h.1]
-    simp only [length_append_sub, ↓reduceIte]
-[    rw [ih v rest h.1]
-    simp only [length_append_sub, ↓reduceIte]
-h    rw [ih v rest h.1]
-    simp only [length_append_sub, ↓reduceIte]
-x    rw [ih v rest h.1]
-    simp only [length_append_sub, ↓reduceIte]
-]    rw [ih v rest h.1]
-    simp only [length_append_sub, ↓reduceIte]
-;    rw [ih v rest h.1]
-    simp only [length_append_sub, ↓reduceIte]
-     rw [ih v rest h.1]
-    simp only [length_append_sub, ↓reduceIte]
-e    rw [ih v rest h.1]
-    simp only [length_append_sub, ↓reduceIte]
-x    rw [ih v rest h.1]
-    simp only [length_append_sub, ↓reduceIte]
-a    rw [ih v rest h.1]
-    simp only [length_append_sub, ↓reduceIte]
-c    rw [ih v rest h.1]
-    simp only [length_append_sub, ↓reduceIte]
-t    rw [ih v rest h.1]
-    simp only [length_append_sub, ↓reduceIte]
-     rw [ih v rest h.1]
-    simp only [length_append_sub, ↓reduceIte]
-h    rw [ih v rest h.1]
-    simp only [length_append_sub, ↓reduceIte]
-.    rw [ih v rest h.1]
-    simp only [length_append_sub, ↓reduceIte]
-1    rw [ih v rest h.1]
-    simp only [length_append_sub, ↓reduceIte]
-
-    rw [ih v rest h.1]
-    simp only [length_append_sub, ↓reduceIte]
-     rw [ih v rest h.1]
-    simp only [length_append_sub, ↓reduceIte]
-     rw [ih v rest h.1]
-    simp only [length_append_sub, ↓reduceIte]
-     rw [ih v rest h.1]
-    simp only [length_append_sub, ↓reduceIte]
-     rw [ih v rest h.1]
-    simp only [length_append_sub, ↓reduceIte]
-     rw [ih v rest h.1]
-    simp only [length_append_sub, ↓reduceIte]
-     rw [ih v rest h.1]
-    simp only [length_append_sub, ↓reduceIte]
-     rw [ih v rest h.1]
-    simp only [length_append_sub, ↓reduceIte]
-     rw [ih v rest h.1]
-    simp only [length_append_sub, ↓reduceIte]
-·    rw [ih v rest h.1]
-    simp only [length_append_sub, ↓reduceIte]
-     rw [ih v rest h.1]
-    simp only [length_append_sub, ↓reduceIte]
-e    rw [ih v rest h.1]
-    simp only [length_append_sub, ↓reduceIte]
-x    rw [ih v rest h.1]
-    simp only [length_append_sub, ↓reduceIte]
-a    rw [ih v rest h.1]
-    simp only [length_append_sub, ↓reduceIte]
-c    rw [ih v rest h.1]
-    simp only [length_append_sub, ↓reduceIte]
-t    rw [ih v rest h.1]
-    simp only [length_append_sub, ↓reduceIte]
-     rw [ih v rest h.1]
-    simp only [length_append_sub, ↓reduceIte]
-t    rw [ih v rest h.1]
-    simp only [length_append_sub, ↓reduceIte]
-h    rw [ih v rest h.1]
-    simp only [length_append_sub, ↓reduceIte]
-i    rw [ih v rest h.1]
-    simp only [length_append_sub, ↓reduceIte]
-s    rw [ih v rest h.1]
-    simp only [length_append_sub, ↓reduceIte]
-.    rw [ih v rest h.1]
-    simp only [length_append_sub, ↓reduceIte]
-2    rw [ih v rest h.1]
-    simp only [length_append_sub, ↓reduceIte]
-     rw [ih v rest h.1]
-    simp only [length_append_sub, ↓reduceIte]
-x    rw [ih v rest h.1]
-    simp only [length_append_sub, ↓reduceIte]
-     rw [ih v rest h.1]
-    simp only [length_append_sub, ↓reduceIte]
-h    rw [ih v rest h.1]
-    simp only [length_append_sub, ↓reduceIte]
-x    rw [ih v rest h.1]
-    simp only [length_append_sub, ↓reduceIte]
-
-    rw [ih v rest h.1]
-    simp only [length_append_sub, ↓reduceIte]
-     rw [ih v rest h.1]
-    simp only [length_append_sub, ↓reduceIte]
-     rw [ih v rest h.1]
-    simp only [length_append_sub, ↓reduceIte]
-     rw [ih v rest h.1]
-    simp only [length_append_sub, ↓reduceIte]
-     rw [ih v rest h.1]
-    simp only [length_append_sub, ↓reduceIte]
-|    rw [ih v rest h.1]
-    simp only [length_append_sub, ↓reduceIte]
-     rw [ih v rest h.1]
-    simp only [length_append_sub, ↓reduceIte]
-_    rw [ih v rest h.1]
-    simp only [length_append_sub, ↓reduceIte]
-     rw [ih v rest h.1]
-    simp only [length_append_sub, ↓reduceIte]
-=    rw [ih v rest h.1]
-    simp only [length_append_sub, ↓reduceIte]
->    rw [ih v rest h.1]
-    simp only [length_append_sub, ↓reduceIte]
-     rw [ih v rest h.1]
-    simp only [length_append_sub, ↓reduceIte]
-s    rw [ih v rest h.1]
-    simp only [length_append_sub, ↓reduceIte]
-i    rw [ih v rest h.1]
-    simp only [length_append_sub, ↓reduceIte]
-m    rw [ih v rest h.1]
-    simp only [length_append_sub, ↓reduceIte]
-p    rw [ih v rest h.1]
-    simp only [length_append_sub, ↓reduceIte]
-     rw [ih v rest h.1]
-    simp only [length_append_sub, ↓reduceIte]
-[    rw [ih v rest h.1]
-    simp only [length_append_sub, ↓reduceIte]
-a    rw [ih v rest h.1]
-    simp only [length_append_sub, ↓reduceIte]
-l    rw [ih v rest h.1]
-    simp only [length_append_sub, ↓reduceIte]
-l    rw [ih v rest h.1]
-    simp only [length_append_sub, ↓reduceIte]
-I    rw [ih v rest h.1]
-    simp only [length_append_sub, ↓reduceIte]
-n    rw [ih v rest h.1]
-    simp only [length_append_sub, ↓reduceIte]
-t    rw [ih v rest h.1]
-    simp only [length_append_sub, ↓reduceIte]
-]    rw [ih v rest h.1]
-    simp only [length_append_sub, ↓reduceIte]
-     rw [ih v rest h.1]
-    simp only [length_append_sub, ↓reduceIte]
-a    rw [ih v rest h.1]
-    simp only [length_append_sub, ↓reduceIte]
-t    rw [ih v rest h.1]
-    simp only [length_append_sub, ↓reduceIte]
-     rw [ih v rest h.1]
-    simp only [length_append_sub, ↓reduceIte]
-h    rw [ih v rest h.1]
-    simp only [length_append_sub, ↓reduceIte]
-
-    rw [ih v rest h.1]
-    simp only [length_append_sub, ↓reduceIte]
-
-    rw [ih v rest h.1]
-    simp only [length_append_sub, ↓reduceIte]
-t    rw [ih v rest h.1]
-    simp only [length_append_sub, ↓reduceIte]
-h    rw [ih v rest h.1]
-    simp only [length_append_sub, ↓reduceIte]
-e    rw [ih v rest h.1]
-    simp only [length_append_sub, ↓reduceIte]
-o    rw [ih v rest h.1]
-    simp only [length_append_sub, ↓reduceIte]
-r    rw [ih v rest h.1]
-    simp only [length_append_sub, ↓reduceIte]
-e    rw [ih v rest h.1]
-    simp only [length_append_sub, ↓reduceIte]
-m    rw [ih v rest h.1]
-    simp only [length_append_sub, ↓reduceIte]
-     rw [ih v rest h.1]
-    simp only [length_append_sub, ↓reduceIte]
-a    rw [ih v rest h.1]
-    simp only [length_append_sub, ↓reduceIte]
-l    rw [ih v rest h.1]
-    simp only [length_append_sub, ↓reduceIte]
-l    rw [ih v rest h.1]
-    simp only [length_append_sub, ↓reduceIte]
-S    rw [ih v rest h.1]
-    simp only [length_append_sub, ↓reduceIte]
-t    rw [ih v rest h.1]
-    simp only [length_append_sub, ↓reduceIte]
-r    rw [ih v rest h.1]
-    simp only [length_append_sub, ↓reduceIte]
-_    rw [ih v rest h.1]
-    simp only [length_append_sub, ↓reduceIte]
-s    rw [ih v rest h.1]
-    simp only [length_append_sub, ↓reduceIte]
-p    rw [ih v rest h.1]
-    simp only [length_append_sub, ↓reduceIte]
-e    rw [ih v rest h.1]
-    simp only [length_append_sub, ↓reduceIte]
-c    rw [ih v rest h.1]
-    simp only [length_append_sub, ↓reduceIte]
-     rw [ih v rest h.1]
-    simp only [length_append_sub, ↓reduceIte]
-(    rw [ih v rest h.1]
-    simp only [length_append_sub, ↓reduceIte]
-v    rw [ih v rest h.1]
-    simp only [length_append_sub, ↓reduceIte]
-s    rw [ih v rest h.1]
-    simp only [length_append_sub, ↓reduceIte]
-     rw [ih v rest h.1]
-    simp only [length_append_sub, ↓reduceIte]
-:    rw [ih v rest h.1]
-    simp only [length_append_sub, ↓reduceIte]
-     rw [ih v rest h.1]
-    simp only [length_append_sub, ↓reduceIte]
-L    rw [ih v rest h.1]
-    simp only [length_append_sub, ↓reduceIte]
-i    rw [ih v rest h.1]
-    simp only [length_append_sub, ↓reduceIte]
-s    rw [ih v rest h.1]
-    simp only [length_append_sub, ↓reduceIte]
-t    rw [ih v rest h.1]
-    simp only [length_append_sub, ↓reduceIte]
-     rw [ih v rest h.1]
-    simp only [length_append_sub, ↓reduceIte]
-V    rw [ih v rest h.1]
-    simp only [length_append_sub, ↓reduceIte]
-a    rw [ih v rest h.1]
-    simp only [length_append_sub, ↓reduceIte]
-l    rw [ih v rest h.1]
-    simp only [length_append_sub, ↓reduceIte]
-)    rw [ih v rest h.1]
-    simp only [length_append_sub, ↓reduceIte]
-     rw [ih v rest h.1]
-    simp only [length_append_sub, ↓reduceIte]
-(    rw [ih v rest h.1]
-    simp only [length_append_sub, ↓reduceIte]
-h    rw [ih v rest h.1]
-    simp only [length_append_sub, ↓reduceIte]
-     rw [ih v rest h.1]
-    simp only [length_append_sub, ↓reduceIte]
-:    rw [ih v rest h.1]
-    simp only [length_append_sub, ↓reduceIte]
-     rw [ih v rest h.1]
-    simp only [length_append_sub, ↓reduceIte]
-a    rw [ih v rest h.1]
-    simp only [length_append_sub, ↓reduceIte]
-l    rw [ih v rest h.1]
-    simp only [length_append_sub, ↓reduceIte]
-l    rw [ih v rest h.1]
-    simp only [length_append_sub, ↓reduceIte]
-S    rw [ih v rest h.1]
-    simp only [length_append_sub, ↓reduceIte]
-t    rw [ih v rest h.1]
-    simp only [length_append_sub, ↓reduceIte]
-r    rw [ih v rest h.1]
-    simp only [length_append_sub, ↓reduceIte]
-     rw [ih v rest h.1]
-    simp only [length_append_sub, ↓reduceIte]
-v    rw [ih v rest h.1]
-    simp only [length_append_sub, ↓reduceIte]
-s    rw [ih v rest h.1]
-    simp only [length_append_sub, ↓reduceIte]
-     rw [ih v rest h.1]
-    simp only [length_append_sub, ↓reduceIte]
-=    rw [ih v rest h.1]
-    simp only [length_append_sub, ↓reduceIte]
-     rw [ih v rest h.1]
-    simp only [length_append_sub, ↓reduceIte]
-t    rw [ih v rest h.1]
-    simp only [length_append_sub, ↓reduceIte]
-r    rw [ih v rest h.1]
-    simp only [length_append_sub, ↓reduceIte]
-u    rw [ih v rest h.1]
-    simp only [length_append_sub, ↓reduceIte]
-e    rw [ih v rest h.1]
-    simp only [length_append_sub, ↓reduceIte]
-)    rw [ih v rest h.1]
-    simp only [length_append_sub, ↓reduceIte]
-     rw [ih v rest h.1]
-    simp only [length_append_sub, ↓reduceIte]
-:    rw [ih v rest h.1]
-    simp only [length_append_sub, ↓reduceIte]
-
-    rw [ih v rest h.1]
-    simp only [length_append_sub, ↓reduceIte]
-     rw [ih v rest h.1]
-    simp only [length_append_sub, ↓reduceIte]
-     rw [ih v rest h.1]
-    simp only [length_append_sub, ↓reduceIte]
-     rw [ih v rest h.1]
-    simp only [length_append_sub, ↓reduceIte]
-     rw [ih v rest h.1]
-    simp only [length_append_sub, ↓reduceIte]
-(    rw [ih v rest h.1]
-    simp only [length_append_sub, ↓reduceIte]
-b    rw [ih v rest h.1]
-    simp only [length_append_sub, ↓reduceIte]
-y    rw [ih v rest h.1]
-    simp only [length_append_sub, ↓reduceIte]
-t    rw [ih v rest h.1]
-    simp only [length_append_sub, ↓reduceIte]
-e    rw [ih v rest h.1]
-    simp only [length_append_sub, ↓reduceIte]
-s    rw [ih v rest h.1]
-    simp only [length_append_sub, ↓reduceIte]
-O    rw [ih v rest h.1]
-    simp only [length_append_sub, ↓reduceIte]
-f    rw [ih v rest h.1]
-    simp only [length_append_sub, ↓reduceIte]
-     rw [ih v rest h.1]
-    simp only [length_append_sub, ↓reduceIte]
-v    rw [ih v rest h.1]
-    simp only [length_append_sub, ↓reduceIte]
-s    rw [ih v rest h.1]
-    simp only [length_append_sub, ↓reduceIte]
-)    rw [ih v rest h.1]
-    simp only [length_append_sub, ↓reduceIte]
-.    rw [ih v rest h.1]
-    simp only [length_append_sub, ↓reduceIte]
-m    rw [ih v rest h.1]
-    simp only [length_append_sub, ↓reduceIte]
-a    rw [ih v rest h.1]
-    simp only [length_append_sub, ↓reduceIte]
-p    rw [ih v rest h.1]
-    simp only [length_append_sub, ↓reduceIte]
-     rw [ih v rest h.1]
-    simp only [length_append_sub, ↓reduceIte]
-V    rw [ih v rest h.1]
-    simp only [length_append_sub, ↓reduceIte]
-a    rw [ih v rest h.1]
-    simp only [length_append_sub, ↓reduceIte]
-l    rw [ih v rest h.1]
-    simp only [length_append_sub, ↓reduceIte]
-.    rw [ih v rest h.1]
-    simp only [length_append_sub, ↓reduceIte]
-b    rw [ih v rest h.1]
-    simp only [length_append_sub, ↓reduceIte]
-y    rw [ih v rest h.1]
-    simp only [length_append_sub, ↓reduceIte]
-t    rw [ih v rest h.1]
-    simp only [length_append_sub, ↓reduceIte]
-e    rw [ih v rest h.1]
-    simp only [length_append_sub, ↓reduceIte]
-s    rw [ih v rest h.1]
-    simp only [length_append_sub, ↓reduceIte]
-     rw [ih v rest h.1]
-    simp only [length_append_sub, ↓reduceIte]
-=    rw [ih v rest h.1]
-    simp only [length_append_sub, ↓reduceIte]
-     rw [ih v rest h.1]
-    simp only [length_append_sub, ↓reduceIte]
-v    rw [ih v rest h.1]
-    simp only [length_append_sub, ↓reduceIte]
-s    rw [ih v rest h.1]
-    simp only [length_append_sub, ↓reduceIte]
-     rw [ih v rest h.1]
-    simp only [length_append_sub, ↓reduceIte]
-∧    rw [ih v rest h.1]
-    simp only [length_append_sub, ↓reduceIte]
-     rw [ih v rest h.1]
-    simp only [length_append_sub, ↓reduceIte]
-∀    rw [ih v rest h.1]
-    simp only [length_append_sub, ↓reduceIte]
-     rw [ih v rest h.1]
-    simp only [length_append_sub, ↓reduceIte]
-s    rw [ih v rest h.1]
-    simp only [length_append_sub, ↓reduceIte]
-     rw [ih v rest h.1]
-    simp only [length_append_sub, ↓reduceIte]
-∈    rw [ih v rest h.1]
-    simp only [length_append_sub, ↓reduceIte]
-     rw [ih v rest h.1]
-    simp only [length_append_sub, ↓reduceIte]
-b    rw [ih v rest h.1]
-    simp only [length_append_sub, ↓reduceIte]
-y    rw [ih v rest h.1]
-    simp only [length_append_sub, ↓reduceIte]
-t    rw [ih v rest h.1]
-    simp only [length_append_sub, ↓reduceIte]
-e    rw [ih v rest h.1]
-    simp only [length_append_sub, ↓reduceIte]
-s    rw [ih v rest h.1]
-    simp only [length_append_sub, ↓reduceIte]
-O    rw [ih v rest h.1]
-    simp only [length_append_sub, ↓reduceIte]
-f    rw [ih v rest h.1]
-    simp only [length_append_sub, ↓reduceIte]
-     rw [ih v rest h.1]
-    simp only [length_append_sub, ↓reduceIte]
-v    rw [ih v rest h.1]
-    simp only [length_append_sub, ↓reduceIte]
-s    rw [ih v rest h.1]
-    simp only [length_append_sub, ↓reduceIte]
-,    rw [ih v rest h.1]
-    simp only [length_append_sub, ↓reduceIte]
-     rw [ih v rest h.1]
-    simp only [length_append_sub, ↓reduceIte]
-s    rw [ih v rest h.1]
-    simp only [length_append_sub, ↓reduceIte]
-.    rw [ih v rest h.1]
-    simp only [length_append_sub, ↓reduceIte]
-l    rw [ih v rest h.1]
-    simp only [length_append_sub, ↓reduceIte]
-e    rw [ih v rest h.1]
-    simp only [length_append_sub, ↓reduceIte]
-n    rw [ih v rest h.1]
-    simp only [length_append_sub, ↓reduceIte]
-g    rw [ih v rest h.1]
-    simp only [length_append_sub, ↓reduceIte]
-t    rw [ih v rest h.1]
-    simp only [length_append_sub, ↓reduceIte]
-h    rw [ih v rest h.1]
-    simp only [length_append_sub, ↓reduceIte]
-     rw [ih v rest h.1]
-    simp only [length_append_sub, ↓reduceIte]
-<    rw [ih v rest h.1]
-    simp only [length_append_sub, ↓reduceIte]
-     rw [ih v rest h.1]
-    simp only [length_append_sub, ↓reduceIte]
-2    rw [ih v rest h.1]
-    simp only [length_append_sub, ↓reduceIte]
-     rw [ih v rest h.1]
-    simp only [length_append_sub, ↓reduceIte]
-^    rw [ih v rest h.1]
-    simp only [length_append_sub, ↓reduceIte]
-     rw [ih v rest h.1]
-    simp only [length_append_sub, ↓reduceIte]
-1    rw [ih v rest h.1]
-    simp only [length_append_sub, ↓reduceIte]
-5    rw [ih v rest h.1]
-    simp only [length_append_sub, ↓reduceIte]
-     rw [ih v rest h.1]
-    simp only [length_append_sub, ↓reduceIte]
-:    rw [ih v rest h.1]
-    simp only [length_append_sub, ↓reduceIte]
-=    rw [ih v rest h.1]
-    simp only [length_append_sub, ↓reduceIte]
-     rw [ih v rest h.1]
-    simp only [length_append_sub, ↓reduceIte]
-b    rw [ih v rest h.1]
-    simp only [length_append_sub, ↓reduceIte]
-y    rw [ih v rest h.1]
-    simp only [length_append_sub, ↓reduceIte]
-
-    rw [ih v rest h.1]
-    simp only [length_append_sub, ↓reduceIte]
-     rw [ih v rest h.1]
-    simp only [length_append_sub, ↓reduceIte]
-     rw [ih v rest h.1]
-    simp only [length_append_sub, ↓reduceIte]
-i    rw [ih v rest h.1]
-    simp only [length_append_sub, ↓reduceIte]
-n    rw [ih v rest h.1]
-    simp only [length_append_sub, ↓reduceIte]
-d    rw [ih v rest h.1]
-    simp only [length_append_sub, ↓reduceIte]
-u    rw [ih v rest h.1]
-    simp only [length_append_sub, ↓reduceIte]
-c    rw [ih v rest h.1]
-    simp only [length_append_sub, ↓reduceIte]
-t    rw [ih v rest h.1]
-    simp only [length_append_sub, ↓reduceIte]
-i    rw [ih v rest h.1]
-    simp only [length_append_sub, ↓reduceIte]
-o    rw [ih v rest h.1]
-    simp only [length_append_sub, ↓reduceIte]
-n    rw [ih v rest h.1]
-    simp only [length_append_sub, ↓reduceIte]
-     rw [ih v rest h.1]
-    simp only [length_append_sub, ↓reduceIte]
-v    rw [ih v rest h.1]
-    simp only [length_append_sub, ↓reduceIte]
-s    rw [ih v rest h.1]
-    simp only [length_append_sub, ↓reduceIte]
-     rw [ih v rest h.1]
-    simp only [length_append_sub, ↓reduceIte]
-w    rw [ih v rest h.1]
-    simp only [length_append_sub, ↓reduceIte]
-i    rw [ih v rest h.1]
-    simp only [length_append_sub, ↓reduceIte]
-t    rw [ih v rest h.1]
-    simp only [length_append_sub, ↓reduceIte]
-h    rw [ih v rest h.1]
-    simp only [length_append_sub, ↓reduceIte]
-
-    rw [ih v rest h.1]
-    simp only [length_append_sub, ↓reduceIte]
-     rw [ih v rest h.1]
-    simp only [length_append_sub, ↓reduceIte]
-     rw [ih v rest h.1]
-    simp only [length_append_sub, ↓reduceIte]
-|    rw [ih v rest h.1]
-    simp only [length_append_sub, ↓reduceIte]
-     rw [ih v rest h.1]
-    simp only [length_append_sub, ↓reduceIte]
-n    rw [ih v rest h.1]
-    simp only [length_append_sub, ↓reduceIte]
-i    rw [ih v rest h.1]
-    simp only [length_append_sub, ↓reduceIte]
-l    rw [ih v rest h.1]
-    simp only [length_append_sub, ↓reduceIte]
-     rw [ih v rest h.1]
-    simp only [length_append_sub, ↓reduceIte]
-=    rw [ih v rest h.1]
-    simp only [length_append_sub, ↓reduceIte]
->    rw [ih v rest h.1]
-    simp only [length_append_sub, ↓reduceIte]
-     rw [ih v rest h.1]
-    simp only [length_append_sub, ↓reduceIte]
-s    rw [ih v rest h.1]
-    simp only [length_append_sub, ↓reduceIte]
-i    rw [ih v rest h.1]
-    simp only [length_append_sub, ↓reduceIte]
-m    rw [ih v rest h.1]
-    simp only [length_append_sub, ↓reduceIte]
-p    rw [ih v rest h.1]
-    simp only [length_append_sub, ↓reduceIte]
-     rw [ih v rest h.1]
-    simp only [length_append_sub, ↓reduceIte]
-[    rw [ih v rest h.1]
-    simp only [length_append_sub, ↓reduceIte]
-b    rw [ih v rest h.1]
-    simp only [length_append_sub, ↓reduceIte]
-y    rw [ih v rest h.1]
-    simp only [length_append_sub, ↓reduceIte]
-t    rw [ih v rest h.1]
-    simp only [length_append_sub, ↓reduceIte]
-e    rw [ih v rest h.1]
-    simp only [length_append_sub, ↓reduceIte]
-s    rw [ih v rest h.1]
-    simp only [length_append_sub, ↓reduceIte]
-O    rw [ih v rest h.1]
-    simp only [length_append_sub, ↓reduceIte]
-f    rw [ih v rest h.1]
-    simp only [length_append_sub, ↓reduceIte]
-]    rw [ih v rest h.1]
-    simp only [length_append_sub, ↓reduceIte]
-
-    rw [ih v rest h.1]
-    simp only [length_append_sub, ↓reduceIte]
-     rw [ih v rest h.1]
-    simp only [length_append_sub, ↓reduceIte]
-     rw [ih v rest h.1]
-    simp only [length_append_sub, ↓reduceIte]
-|    rw [ih v rest h.1]
-    simp only [length_append_sub, ↓reduceIte]
-     rw [ih v rest h.1]
-    simp only [length_append_sub, ↓reduceIte]
-c    rw [ih v rest h.1]
-    simp only [length_append_sub, ↓reduceIte]
-o    rw [ih v rest h.1]
-    simp only [length_append_sub, ↓reduceIte]
-n    rw [ih v rest h.1]
-    simp only [length_append_sub, ↓reduceIte]
-s    rw [ih v rest h.1]
-    simp only [length_append_sub, ↓reduceIte]
-     rw [ih v rest h.1]
-    simp only [length_append_sub, ↓reduceIte]
-v    rw [ih v rest h.1]
-    simp only [length_append_sub, ↓reduceIte]
-     rw [ih v rest h.1]
-    simp only [length_append_sub, ↓reduceIte]
-v    rw [ih v rest h.1]
-    simp only [length_append_sub, ↓reduceIte]
-s    rw [ih v rest h.1]
-    simp only [length_append_sub, ↓reduceIte]
-     rw [ih v rest h.1]
-    simp only [length_append_sub, ↓reduceIte]
-i    rw [ih v rest h.1]
-    simp only [length_append_sub, ↓reduceIte]
-h    rw [ih v rest h.1]
-    simp only [length_append_sub, ↓reduceIte]
-     rw [ih v rest h.1]
-    simp only [length_append_sub, ↓reduceIte]
-=    rw [ih v rest h.1]
-    simp only [length_append_sub, ↓reduceIte]
->    rw [ih v rest h.1]
-    simp only [length_append_sub, ↓reduceIte]
-
-    rw [ih v rest h.1]
-    simp only [length_append_sub, ↓reduceIte]
-     rw [ih v rest h.1]
-    simp only [length_append_sub, ↓reduceIte]
-     rw [ih v rest h.1]
-    simp only [length_append_sub, ↓reduceIte]
-     rw [ih v rest h.1]
-    simp only [length_append_sub, ↓reduceIte]
-     rw [ih v rest h.1]
-    simp only [length_append_sub, ↓reduceIte]
-c    rw [ih v rest h.1]
-    simp only [length_append_sub, ↓reduceIte]
-a    rw [ih v rest h.1]
-    simp only [length_append_sub, ↓reduceIte]
-s    rw [ih v rest h.1]
-    simp only [length_append_sub, ↓reduceIte]
-e    rw [ih v rest h.1]
-    simp only [length_append_sub, ↓reduceIte]
-s    rw [ih v rest h.1]
-    simp only [length_append_sub, ↓reduceIte]
-     rw [ih v rest h.1]
-    simp only [length_append_sub, ↓reduceIte]
-v    rw [ih v rest h.1]
-    simp only [length_append_sub, ↓reduceIte]
-     rw [ih v rest h.1]
-    simp only [length_append_sub, ↓reduceIte]
-w    rw [ih v rest h.1]
-    simp only [length_append_sub, ↓reduceIte]
-i    rw [ih v rest h.1]
-    simp only [length_append_sub, ↓reduceIte]
-t    rw [ih v rest h.1]
-    simp only [length_append_sub, ↓reduceIte]
-h    rw [ih v rest h.1]
-    simp only [length_append_sub, ↓reduceIte]
-
-    rw [ih v rest h.1]
-    simp only [length_append_sub, ↓reduceIte]
-     rw [ih v rest h.1]
-    simp only [length_append_sub, ↓reduceIte]
-     rw [ih v rest h.1]
-    simp only [length_append_sub, ↓reduceIte]
-     rw [ih v rest h.1]
-    simp only [length_append_sub, ↓reduceIte]
-     rw [ih v rest h.1]
-    simp only [length_append_sub, ↓reduceIte]
-|    rw [ih v rest h.1]
-    simp only [length_append_sub, ↓reduceIte]
-     rw [ih v rest h.1]
-    simp only [length_append_sub, ↓reduceIte]
-b    rw [ih v rest h.1]
-    simp only [length_append_sub, ↓reduceIte]
-y    rw [ih v rest h.1]
-    simp only [length_append_sub, ↓reduceIte]
-t    rw [ih v rest h.1]
-    simp only [length_append_sub, ↓reduceIte]
-e    rw [ih v rest h.1]
-    simp only [length_append_sub, ↓reduceIte]
-s    rw [ih v rest h.1]
-    simp only [length_append_sub, ↓reduceIte]
-     rw [ih v rest h.1]
-    simp only [length_append_sub, ↓reduceIte]
-b    rw [ih v rest h.1]
-    simp only [length_append_sub, ↓reduceIte]
-     rw [ih v rest h.1]
-    simp only [length_append_sub, ↓reduceIte]
-=    rw [ih v rest h.1]
-    simp only [length_append_sub, ↓reduceIte]
->    rw [ih v rest h.1]
-    simp only [length_append_sub, ↓reduceIte]
-
-    rw [ih v rest h.1]
-    simp only [length_append_sub, ↓reduceIte]
-     rw [ih v rest h.1]
-    simp only [length_append_sub, ↓reduceIte]
-     rw [ih v rest h.1]
-    simp only [length_append_sub, ↓reduceIte]
-     rw [ih v rest h.1]
-    simp only [length_append_sub, ↓reduceIte]
-     rw [ih v rest h.1]
-    simp only [length_append_sub, ↓reduceIte]
-     rw [ih v rest h.1]
-    simp only [length_append_sub, ↓reduceIte]
-     rw [ih v rest h.1]
-    simp only [length_append_sub, ↓reduceIte]
-s    rw [ih v rest h.1]
-    simp only [length_append_sub, ↓reduceIte]
-i    rw [ih v rest h.1]
-    simp only [length_append_sub, ↓reduceIte]
-m    rw [ih v rest h.1]
-    simp only [length_append_sub, ↓reduceIte]
-p    rw [ih v rest h.1]
-    simp only [length_append_sub, ↓reduceIte]
-     rw [ih v rest h.1]
-    simp only [length_append_sub, ↓reduceIte]
-o    rw [ih v rest h.1]
-    simp only [length_append_sub, ↓reduceIte]
-n    rw [ih v rest h.1]
-    simp only [length_append_sub, ↓reduceIte]
-l    rw [ih v rest h.1]
-    simp only [length_append_sub, ↓reduceIte]
-y    rw [ih v rest h.1]
-    simp only [length_append_sub, ↓reduceIte]
-     rw [ih v rest h.1]
-    simp only [length_append_sub, ↓reduceIte]
-[    rw [ih v rest h.1]
-    simp only [length_append_sub, ↓reduceIte]
-a    rw [ih v rest h.1]
-    simp only [length_append_sub, ↓reduceIte]
-l    rw [ih v rest h.1]
-    simp only [length_append_sub, ↓reduceIte]
-l    rw [ih v rest h.1]
-    simp only [length_append_sub, ↓reduceIte]
-S    rw [ih v rest h.1]
-    simp only [length_append_sub, ↓reduceIte]
-t    rw [ih v rest h.1]
-    simp only [length_append_sub, ↓reduceIte]
-r    rw [ih v rest h.1]
-    simp only [length_append_sub, ↓reduceIte]
-,    rw [ih v rest h.1]
-    simp only [length_append_sub, ↓reduceIte]
-     rw [ih v rest h.1]
-    simp only [length_append_sub, ↓reduceIte]
-B    rw [ih v rest h.1]
-    simp only [length_append_sub, ↓reduceIte]
-o    rw [ih v rest h.1]
-    simp only [length_append_sub, ↓reduceIte]
-o    rw [ih v rest h.1]
-    simp only [length_append_sub, ↓reduceIte]
-l    rw [ih v rest h.1]
-    simp only [length_append_sub, ↓reduceIte]
-.    rw [ih v rest h.1]
-    simp only [length_append_sub, ↓reduceIte]
-a    rw [ih v rest h.1]
-    simp only [length_append_sub, ↓reduceIte]
-n    rw [ih v rest h.1]
-    simp only [length_append_sub, ↓reduceIte]
-d    rw [ih v rest h.1]
-    simp only [length_append_sub, ↓reduceIte]
-_    rw [ih v rest h.1]
-    simp only [length_append_sub, ↓reduceIte]
-e    rw [ih v rest h.1]
-    simp only [length_append_sub, ↓reduceIte]
-q    rw [ih v rest h.1]
-    simp only [length_append_sub, ↓reduceIte]
-_    rw [ih v rest h.1]
-    simp only [length_append_sub, ↓reduceIte]
-t    rw [ih v rest h.1]
-    simp only [length_append_sub, ↓reduceIte]
-r    rw [ih v rest h.1]
-    simp only [length_append_sub, ↓reduceIte]
-u    rw [ih v rest h.1]
-    simp only [length_append_sub, ↓reduceIte]
-e    rw [ih v rest h.1]
-    simp only [length_append_sub, ↓reduceIte]
-,    rw [ih v rest h.1]
-    simp only [length_append_sub, ↓reduceIte]
-     rw [ih v rest h.1]
-    simp only [length_append_sub, ↓reduceIte]
-d    rw [ih v rest h.1]
-    simp only [length_append_sub, ↓reduceIte]
-e    rw [ih v rest h.1]
-    simp only [length_append_sub, ↓reduceIte]
-c    rw [ih v rest h.1]
-    simp only [length_append_sub, ↓reduceIte]
-i    rw [ih v rest h.1]
-    simp only [length_append_sub, ↓reduceIte]
-d    rw [ih v rest h.1]
-    simp only [length_append_sub, ↓reduceIte]
-e    rw [ih v rest h.1]
-    simp only [length_append_sub, ↓reduceIte]
-_    rw [ih v rest h.1]
-    simp only [length_append_sub, ↓reduceIte]
-e    rw [ih v rest h.1]
-    simp only [length_append_sub, ↓reduceIte]
-q    rw [ih v rest h.1]
-    simp only [length_append_sub, ↓reduceIte]
-_    rw [ih v rest h.1]
-    simp only [length_append_sub, ↓reduceIte]
-t    rw [ih v rest h.1]
-    simp only [length_append_sub, ↓reduceIte]
-r    rw [ih v rest h.1]
-    simp only [length_append_sub, ↓reduceIte]
-u    rw [ih v rest h.1]
-    simp only [length_append_sub, ↓reduceIte]
-e    rw [ih v rest h.1]
-    simp only [length_append_sub, ↓reduceIte]
-_    rw [ih v rest h.1]
-    simp only [length_append_sub, ↓reduceIte]
-e    rw [ih v rest h.1]
-    simp only [length_append_sub, ↓reduceIte]
-q    rw [ih v rest h.1]
-    simp only [length_append_sub, ↓reduceIte]
-]    rw [ih v rest h.1]
-    simp only [length_append_sub, ↓reduceIte]
-     rw [ih v rest h.1]
-    simp only [length_append_sub, ↓reduceIte]
-a    rw [ih v rest h.1]
-    simp only [length_append_sub, ↓reduceIte]
-t    rw [ih v rest h.1]
-    simp only [length_append_sub, ↓reduceIte]
-     rw [ih v rest h.1]
-    simp only [length_append_sub, ↓reduceIte]
-h    rw [ih v rest h.1]
-    simp only [length_append_sub, ↓reduceIte]
-
-    rw [ih v rest h.1]
-    simp only [length_append_sub, ↓reduceIte]
-     rw [ih v rest h.1]
-    simp only [length_append_sub, ↓reduceIte]
-     rw [ih v rest h.1]
-    simp only [length_append_sub, ↓reduceIte]
-     rw [ih v rest h.1]
-    simp only [length_append_sub, ↓reduceIte]
-     rw [ih v rest h.1]
-    simp only [length_append_sub, ↓reduceIte]
-     rw [ih v rest h.1]
-    simp only [length_append_sub, ↓reduceIte]
-     rw [ih v rest h.1]
-    simp only [length_append_sub, ↓reduceIte]
-h    rw [ih v rest h.1]
-    simp only [length_append_sub, ↓reduceIte]
-a    rw [ih v rest h.1]
-    simp only [length_append_sub, ↓reduceIte]
-v    rw [ih v rest h.1]
-    simp only [length_append_sub, ↓reduceIte]
-e    rw [ih v rest h.1]
-    simp only [length_append_sub, ↓reduceIte]
-     rw [ih v rest h.1]
-    simp only [length_append_sub, ↓reduceIte]
-:    rw [ih v rest h.1]
-    simp only [length_append_sub, ↓reduceIte]
-=    rw [ih v rest h.1]
-    simp only [length_append_sub, ↓reduceIte]
-     rw [ih v rest h.1]
-    simp only [length_append_sub, ↓reduceIte]
-i    rw [ih v rest h.1]
-    simp only [length_append_sub, ↓reduceIte]
-h    rw [ih v rest h.1]
-    simp only [length_append_sub, ↓reduceIte]
-     rw [ih v rest h.1]
-    simp only [length_append_sub, ↓reduceIte]
-h    rw [ih v rest h.1]
-    simp only [length_append_sub, ↓reduceIte]
-.    rw [ih v rest h.1]
-    simp only [length_append_sub, ↓reduceIte]
-2    rw [ih v rest h.1]
-    simp only [length_append_sub, ↓reduceIte]
-
-    rw [ih v rest h.1]
-    simp only [length_append_sub, ↓reduceIte]
-     rw [ih v rest h.1]
-    simp only [length_append_sub, ↓reduceIte]
-     rw [ih v rest h.1]
-    simp only [length_append_sub, ↓reduceIte]
-     rw [ih v rest h.1]
-    simp only [length_append_sub, ↓reduceIte]
-     rw [ih v rest h.1]
-    simp only [length_append_sub, ↓reduceIte]
-     rw [ih v rest h.1]
-    simp only [length_append_sub, ↓reduceIte]
-     rw [ih v rest h.1]
-    simp only [length_append_sub, ↓reduceIte]
-c    rw [ih v rest h.1]
-    simp only [length_append_sub, ↓reduceIte]
-o    rw [ih v rest h.1]
-    simp only [length_append_sub, ↓reduceIte]
-n    rw [ih v rest h.1]
-    simp only [length_append_sub, ↓reduceIte]
-s    rw [ih v rest h.1]
-    simp only [length_append_sub, ↓reduceIte]
-t    rw [ih v rest h.1]
-    simp only [length_append_sub, ↓reduceIte]
-r    rw [ih v rest h.1]
-    simp only [length_append_sub, ↓reduceIte]
-u    rw [ih v rest h.1]
-    simp only [length_append_sub, ↓reduceIte]
-c    rw [ih v rest h.1]
-    simp only [length_append_sub, ↓reduceIte]
-t    rw [ih v rest h.1]
-    simp only [length_append_sub, ↓reduceIte]
-o    rw [ih v rest h.1]
-    simp only [length_append_sub, ↓reduceIte]
-r    rw [ih v rest h.1]
-    simp only [length_append_sub, ↓reduceIte]
-
-    rw [ih v rest h.1]
-    simp only [length_append_sub, ↓reduceIte]
-     rw [ih v rest h.1]
-    simp only [length_append_sub, ↓reduceIte]
-     rw [ih v rest h.1]
-    simp only [length_append_sub, ↓reduceIte]
-     rw [ih v rest h.1]
-    simp only [length_append_sub, ↓reduceIte]
-     rw [ih v rest h.1]
-    simp only [length_append_sub, ↓reduceIte]
-     rw [ih v rest h.1]
-    simp only [length_append_sub, ↓reduceIte]
-     rw [ih v rest h.1]
-    simp only [length_append_sub, ↓reduceIte]
-·    rw [ih v rest h.1]
-    simp only [length_append_sub, ↓reduceIte]
-     rw [ih v rest h.1]
-    simp only [length_append_sub, ↓reduceIte]
-s    rw [ih v rest h.1]
-    simp only [length_append_sub, ↓reduceIte]
-i    rw [ih v rest h.1]
-    simp only [length_append_sub, ↓reduceIte]
-m    rw [ih v rest h.1]
-    simp only [length_append_sub, ↓reduceIte]
-p    rw [ih v rest h.1]
-    simp only [length_append_sub, ↓reduceIte]
-     rw [ih v rest h.1]
-    simp only [length_append_sub, ↓reduceIte]
-o    rw [ih v rest h.1]
-    simp only [length_append_sub, ↓reduceIte]
-n    rw [ih v rest h.1]
-    simp only [length_append_sub, ↓reduceIte]
-l    rw [ih v rest h.1]
-    simp only [length_append_sub, ↓reduceIte]
-y    rw [ih v rest h.1]
-    simp only [length_append_sub, ↓reduceIte]
-     rw [ih v rest h.1]
-    simp only [length_append_sub, ↓reduceIte]
-[    rw [ih v rest h.1]
-    simp only [length_append_sub, ↓reduceIte]
-b    rw [ih v rest h.1]
-    simp only [length_append_sub, ↓reduceIte]
-y    rw [ih v rest h.1]
-    simp only [length_append_sub, ↓reduceIte]
-t    rw [ih v rest h.1]
-    simp only [length_append_sub, ↓reduceIte]
-e    rw [ih v rest h.1]
-    simp only [length_append_sub, ↓reduceIte]
-s    rw [ih v rest h.1]
-    simp only [length_append_sub, ↓reduceIte]
-O    rw [ih v rest h.1]
-    simp only [length_append_sub, ↓reduceIte]
-f    rw [ih v rest h.1]
-    simp only [length_append_sub, ↓reduceIte]
-,    rw [ih v rest h.1]
-    simp only [length_append_sub, ↓reduceIte]
-     rw [ih v rest h.1]
-    simp only [length_append_sub, ↓reduceIte]
-L    rw [ih v rest h.1]
-    simp only [length_append_sub, ↓reduceIte]
-i    rw [ih v rest h.1]
-    simp only [length_append_sub, ↓reduceIte]
-s    rw [ih v rest h.1]
-    simp only [length_append_sub, ↓reduceIte]
-t    rw [ih v rest h.1]
-    simp only [length_append_sub, ↓reduceIte]
-.    rw [ih v rest h.1]
-    simp only [length_append_sub, ↓reduceIte]
-m    rw [ih v rest h.1]
-    simp only [length_append_sub, ↓reduceIte]
-a    rw [ih v rest h.1]
-    simp only [length_append_sub, ↓reduceIte]
-p    rw [ih v rest h.1]
-    simp only [length_append_sub, ↓reduceIte]
-_    rw [ih v rest h.1]
-    simp only [length_append_sub, ↓reduceIte]
-c    rw [ih v rest h.1]
-    simp only [length_append_sub, ↓reduceIte]
-o    rw [ih v rest h.1]
-    simp only [length_append_sub, ↓reduceIte]
-n    rw [ih v rest h.1]
-    simp only [length_append_sub, ↓reduceIte]
-s    rw [ih v rest h.1]
-    simp only [length_append_sub, ↓reduceIte]
-,    rw [ih v rest h.1]
-    simp only [length_append_sub, ↓reduceIte]
-     rw [ih v rest h.1]
-    simp only [length_append_sub, ↓reduceIte]
-L    rw [ih v rest h.1]
-    simp only [length_append_sub, ↓reduceIte]
-i    rw [ih v rest h.1]
-    simp only [length_append_sub, ↓reduceIte]
-s    rw [ih v rest h.1]
-    simp only [length_append_sub, ↓reduceIte]
-t    rw [ih v rest h.1]
-    simp only [length_append_sub, ↓reduceIte]
-.    rw [ih v rest h.1]
-    simp only [length_append_sub, ↓reduceIte]
-m    rw [ih v rest h.1]
-    simp only [length_append_sub, ↓reduceIte]
-a    rw [ih v rest h.1]
-    simp only [length_append_sub, ↓reduceIte]
-p    rw [ih v rest h.1]
-    simp only [length_append_sub, ↓reduceIte]
-_    rw [ih v rest h.1]
-    simp only [length_append_sub, ↓reduceIte]
-m    rw [ih v rest h.1]
-    simp only [length_append_sub, ↓reduceIte]
-a    rw [ih v rest h.1]
-    simp only [length_append_sub, ↓reduceIte]
-p    rw [ih v rest h.1]
-    simp only [length_append_sub, ↓reduceIte]
-]    rw [ih v rest h.1]
-    simp only [length_append_sub, ↓reduceIte]
-     rw [ih v rest h.1]
-    simp only [length_append_sub, ↓reduceIte]
-a    rw [ih v rest h.1]
-    simp only [length_append_sub, ↓reduceIte]
-t    rw [ih v rest h.1]
-    simp only [length_append_sub, ↓reduceIte]
-     rw [ih v rest h.1]
-    simp only [length_append_sub, ↓reduceIte]
-*    rw [ih v rest h.1]
-    simp only [length_append_sub, ↓reduceIte]
-;    rw [ih v rest h.1]
-    simp only [length_append_sub, ↓reduceIte]
-     rw [ih v rest h.1]
-    simp only [length_append_sub, ↓reduceIte]
-r    rw [ih v rest h.1]
-    simp only [length_append_sub, ↓reduceIte]
-w    rw [ih v rest h.1]
-    simp only [length_append_sub, ↓reduceIte]
-     rw [ih v rest h.1]
-    simp only [length_append_sub, ↓reduceIte]
-[    rw [ih v rest h.1]
-    simp only [length_append_sub, ↓reduceIte]
-t    rw [ih v rest h.1]
-    simp only [length_append_sub, ↓reduceIte]
-h    rw [ih v rest h.1]
-    simp only [length_append_sub, ↓reduceIte]
-i    rw [ih v rest h.1]
-    simp only [length_append_sub, ↓reduceIte]
-s    rw [ih v rest h.1]
-    simp only [length_append_sub, ↓reduceIte]
-.    rw [ih v rest h.1]
-    simp only [length_append_sub, ↓reduceIte]
-1    rw [ih v rest h.1]
-    simp only [length_append_sub, ↓reduceIte]
-]    rw [ih v rest h.1]
-    simp only [length_append_sub, ↓reduceIte]
-
-    rw [ih v rest h.1]
-    simp only [length_append_sub, ↓reduceIte]
-     rw [ih v rest h.1]
-    simp only [length_append_sub, ↓reduceIte]
-     rw [ih v rest h.1]
-    simp only [length_append_sub, ↓reduceIte]
-     rw [ih v rest h.1]
-    simp only [length_append_sub, ↓reduceIte]
-     rw [ih v rest h.1]
-    simp only [length_append_sub, ↓reduceIte]
-     rw [ih v rest h.1]
-    simp only [length_append_sub, ↓reduceIte]
-     rw [ih v rest h.1]
-    simp only [length_append_sub, ↓reduceIte]
-·    rw [ih v rest h.1]
-    simp only [length_append_sub, ↓reduceIte]
-     rw [ih v rest h.1]
-    simp only [length_append_sub, ↓reduceIte]
-i    rw [ih v rest h.1]
-    simp only [length_append_sub, ↓reduceIte]
-n    rw [ih v rest h.1]
-    simp only [length_append_sub, ↓reduceIte]
-t    rw [ih v rest h.1]
-    simp only [length_append_sub, ↓reduceIte]
-r    rw [ih v rest h.1]
-    simp only [length_append_sub, ↓reduceIte]
-o    rw [ih v rest h.1]
-    simp only [length_append_sub, ↓reduceIte]
-     rw [ih v rest h.1]
-    simp only [length_append_sub, ↓reduceIte]
-x    rw [ih v rest h.1]
-    simp only [length_append_sub, ↓reduceIte]
-     rw [ih v rest h.1]
-    simp only [length_append_sub, ↓reduceIte]
-h    rw [ih v rest h.1]
-    simp only [length_append_sub, ↓reduceIte]
-x    rw [ih v rest h.1]
-    simp only [length_append_sub, ↓reduceIte]
-
-    rw [ih v rest h.1]
-    simp only [length_append_sub, ↓reduceIte]
-     rw [ih v rest h.1]
-    simp only [length_append_sub, ↓reduceIte]
-     rw [ih v rest h.1]
-    simp only [length_append_sub, ↓reduceIte]
-     rw [ih v rest h.1]
-    simp only [length_append_sub, ↓reduceIte]
-     rw [ih v rest h.1]
-    simp only [length_append_sub, ↓reduceIte]
-     rw [ih v rest h.1]
-    simp only [length_append_sub, ↓reduceIte]
-     rw [ih v rest h.1]
-    simp only [length_append_sub, ↓reduceIte]
-     rw [ih v rest h.1]
-    simp only [length_append_sub, ↓reduceIte]
-     rw [ih v rest h.1]
-    simp only [length_append_sub, ↓reduceIte]
-s    rw [ih v rest h.1]
-    simp only [length_append_sub, ↓reduceIte]
-i    rw [ih v rest h.1]
-    simp only [length_append_sub, ↓reduceIte]
-m    rw [ih v rest h.1]
-    simp only [length_append_sub, ↓reduceIte]
-p    rw [ih v rest h.1]
-    simp only [length_append_sub, ↓reduceIte]
-     rw [ih v rest h.1]
-    simp only [length_append_sub, ↓reduceIte]
-o    rw [ih v rest h.1]
-    simp only [length_append_sub, ↓reduceIte]
-n    rw [ih v rest h.1]
-    simp only [length_append_sub, ↓reduceIte]
-l    rw [ih v rest h.1]
-    simp only [length_append_sub, ↓reduceIte]
-y    rw [ih v rest h.1]
-    simp only [length_append_sub, ↓reduceIte]
-     rw [ih v rest h.1]
-    simp only [length_append_sub, ↓reduceIte]
-[    rw [ih v rest h.1]
-    simp only [length_append_sub, ↓reduceIte]
-b    rw [ih v rest h.1]
-    simp only [length_append_sub, ↓reduceIte]
-y    rw [ih v rest h.1]
-    simp only [length_append_sub, ↓reduceIte]
-t    rw [ih v rest h.1]
-    simp only [length_append_sub, ↓reduceIte]
-e    rw [ih v rest h.1]
-    simp only [length_append_sub, ↓reduceIte]
-s    rw [ih v rest h.1]
-    simp only [length_append_sub, ↓reduceIte]
-O    rw [ih v rest h.1]
-    simp only [length_append_sub, ↓reduceIte]
-f    rw [ih v rest h.1]
-    simp only [length_append_sub, ↓reduceIte]
-,    rw [ih v rest h.1]
-    simp only [length_append_sub, ↓reduceIte]
-     rw [ih v rest h.1]
-    simp only [length_append_sub, ↓reduceIte]
-L    rw [ih v rest h.1]
-    simp only [length_append_sub, ↓reduceIte]
-i    rw [ih v rest h.1]
-    simp only [length_append_sub, ↓reduceIte]
-s    rw [ih v rest h.1]
-    simp only [length_append_sub, ↓reduceIte]
-t    rw [ih v rest h.1]
-    simp only [length_append_sub, ↓reduceIte]
-.    rw [ih v rest h.1]
-    simp only [length_append_sub, ↓reduceIte]
-m    rw [ih v rest h.1]
-    simp only [length_append_sub, ↓reduceIte]
-a    rw [ih v rest h.1]
-    simp only [length_append_sub, ↓reduceIte]
-p    rw [ih v rest h.1]
-    simp only [length_append_sub, ↓reduceIte]
-_    rw [ih v rest h.1]
-    simp only [length_append_sub, ↓reduceIte]
-c    rw [ih v rest h.1]
-    simp only [length_append_sub, ↓reduceIte]
-o    rw [ih v rest h.1]
-    simp only [length_append_sub, ↓reduceIte]
-n    rw [ih v rest h.1]
-    simp only [length_append_sub, ↓reduceIte]
-s    rw [ih v rest h.1]
-    simp only [length_append_sub, ↓reduceIte]
-,    rw [ih v rest h.1]
-    simp only [length_append_sub, ↓reduceIte]
-     rw [ih v rest h.1]
-    simp only [length_append_sub, ↓reduceIte]
-L    rw [ih v rest h.1]
-    simp only [length_append_sub, ↓reduceIte]
-i    rw [ih v rest h.1]
-    simp only [length_append_sub, ↓reduceIte]
-s    rw [ih v rest h.1]
-    simp only [length_append_sub, ↓reduceIte]
-t    rw [ih v rest h.1]
-    simp only [length_append_sub, ↓reduceIte]
-.    rw [ih v rest h.1]
-    simp only [length_append_sub, ↓reduceIte]
-m    rw [ih v rest h.1]
-    simp only [length_append_sub, ↓reduceIte]
-e    rw [ih v rest h.1]
-    simp only [length_append_sub, ↓reduceIte]
-m    rw [ih v rest h.1]
-    simp only [length_append_sub, ↓reduceIte]
-_    rw [ih v rest h.1]
-    simp only [length_append_sub, ↓reduceIte]
-c    rw [ih v rest h.1]
-    simp only [length_append_sub, ↓reduceIte]
-o    rw [ih v rest h.1]
-    simp only [length_append_sub, ↓reduceIte]
-n    rw [ih v rest h.1]
-    simp only [length_append_sub, ↓reduceIte]
-s    rw [ih v rest h.1]
-    simp only [length_append_sub, ↓reduceIte]
-]    rw [ih v rest h.1]
-    simp only [length_append_sub, ↓reduceIte]
-     rw [ih v rest h.1]
-    simp only [length_append_sub, ↓reduceIte]
-a    rw [ih v rest h.1]
-    simp only [length_append_sub, ↓reduceIte]
-t    rw [ih v rest h.1]
-    simp only [length_append_sub, ↓reduceIte]
-     rw [ih v rest h.1]
-    simp only [length_append_sub, ↓reduceIte]
-h    rw [ih v rest h.1]
-    simp only [length_append_sub, ↓reduceIte]
-x    rw [ih v rest h.1]
-    simp only [length_append_sub, ↓reduceIte]
-
-    rw [ih v rest h.1]
-    simp only [length_append_sub, ↓reduceIte]
-     rw [ih v rest h.1]
-    simp only [length_append_sub, ↓reduceIte]
-     rw [ih v rest h.1]
-    simp only [length_append_sub, ↓reduceIte]
-     rw [ih v rest h.1]
-    simp only [length_append_sub, ↓reduceIte]
-     rw [ih v rest h.1]
-    simp only [length_append_sub, ↓reduceIte]
-     rw [ih v rest h.1]
-    simp only [length_append_sub, ↓reduceIte]
-     rw [ih v rest h.1]
-    simp only [length_append_sub, ↓reduceIte]
-     rw [ih v rest h.1]
-    simp only [length_append_sub, ↓reduceIte]
-     rw [ih v rest h.1]
-    simp only [length_append_sub, ↓reduceIte]
-r    rw [ih v rest h.1]
-    simp only [length_append_sub, ↓reduceIte]
-c    rw [ih v rest h.1]
-    simp only [length_append_sub, ↓reduceIte]
-a    rw [ih v rest h.1]
-    simp only [length_append_sub, ↓reduceIte]
-s    rw [ih v rest h.1]
-    simp only [length_append_sub, ↓reduceIte]
-e    rw [ih v rest h.1]
-    simp only [length_append_sub, ↓reduceIte]
-s    rw [ih v rest h.1]
-    simp only [length_append_sub, ↓reduceIte]
-     rw [ih v rest h.1]
-    simp only [length_append_sub, ↓reduceIte]
-h    rw [ih v rest h.1]
-    simp only [length_append_sub, ↓reduceIte]
-x    rw [ih v rest h.1]
-    simp only [length_append_sub, ↓reduceIte]
-     rw [ih v rest h.1]
-    simp only [length_append_sub, ↓reduceIte]
-w    rw [ih v rest h.1]
-    simp only [length_append_sub, ↓reduceIte]
-i    rw [ih v rest h.1]
-    simp only [length_append_sub, ↓reduceIte]
-t    rw [ih v rest h.1]
-    simp only [length_append_sub, ↓reduceIte]
-h    rw [ih v rest h.1]
-    simp only [length_append_sub, ↓reduceIte]
-     rw [ih v rest h.1]
-    simp only [length_append_sub, ↓reduceIte]
-h    rw [ih v rest h.1]
-    simp only [length_append_sub, ↓reduceIte]
-x    rw [ih v rest h.1]
-    simp only [length_append_sub, ↓reduceIte]
-     rw [ih v rest h.1]
-    simp only [length_append_sub, ↓reduceIte]
-|    rw [ih v rest h.1]
-    simp only [length_append_sub, ↓reduceIte]
-     rw [ih v rest h.1]
-    simp only [length_append_sub, ↓reduceIte]
-h    rw [ih v rest h.1]
-    simp only [length_append_sub, ↓reduceIte]
-x    rw [ih v rest h.1]
-    simp only [length_append_sub, ↓reduceIte]
-
-    rw [ih v rest h.1]
-    simp only [length_append_sub, ↓reduceIte]
-     rw [ih v rest h.1]
-    simp only [length_append_sub, ↓reduceIte]
-     rw [ih v rest h.1]
-    simp only [length_append_sub, ↓reduceIte]
-     rw [ih v rest h.1]
-    simp only [length_append_sub, ↓reduceIte]
-     rw [ih v rest h.1]
-    simp only [length_append_sub, ↓reduceIte]
-     rw [ih v rest h.1]
-    simp only [length_append_sub, ↓reduceIte]
-     rw [ih v rest h.1]
-    simp only [length_append_sub, ↓reduceIte]
-     rw [ih v rest h.1]
-    simp only [length_append_sub, ↓reduceIte]
-     rw [ih v rest h.1]
-    simp only [length_append_sub, ↓reduceIte]
-·    rw [ih v rest h.1]
-    simp only [length_append_sub, ↓reduceIte]
-     rw [ih v rest h.1]
-    simp only [length_append_sub, ↓reduceIte]
-r    rw [ih v rest h.1]
-    simp only [length_append_sub, ↓reduceIte]
-w    rw [ih v rest h.1]
-    simp only [length_append_sub, ↓reduceIte]
-     rw [ih v rest h.1]
-    simp only [length_append_sub, ↓reduceIte]
-[    rw [ih v rest h.1]
-    simp only [length_append_sub, ↓reduceIte]
-h    rw [ih v rest h.1]
-    simp only [length_append_sub, ↓reduceIte]
-x    rw [ih v rest h.1]
-    simp only [length_append_sub, ↓reduceIte]
-]    rw [ih v rest h.1]
-    simp only [length_append_sub, ↓reduceIte]
-;    rw [ih v rest h.1]
-    simp only [length_append_sub, ↓reduceIte]
-     rw [ih v rest h.1]
-    simp only [length_append_sub, ↓reduceIte]
-e    rw [ih v rest h.1]
-    simp only [length_append_sub, ↓reduceIte]
-x    rw [ih v rest h.1]
-    simp only [length_append_sub, ↓reduceIte]
-a    rw [ih v rest h.1]
-    simp only [length_append_sub, ↓reduceIte]
-c    rw [ih v rest h.1]
-    simp only [length_append_sub, ↓reduceIte]
-t    rw [ih v rest h.1]
-    simp only [length_append_sub, ↓reduceIte]
-     rw [ih v rest h.1]
-    simp only [length_append_sub, ↓reduceIte]
-h    rw [ih v rest h.1]
-    simp only [length_append_sub, ↓reduceIte]
-.    rw [ih v rest h.1]
-    simp only [length_append_sub, ↓reduceIte]
-1    rw [ih v rest h.1]
-    simp only [length_append_sub, ↓reduceIte]
-
-    rw [ih v rest h.1]
-    simp only [length_append_sub, ↓reduceIte]
-     rw [ih v rest h.1]
-    simp only [length_append_sub, ↓reduceIte]
-     rw [ih v rest h.1]
-    simp only [length_append_sub, ↓reduceIte]
-     rw [ih v rest h.1]
-    simp only [length_append_sub, ↓reduceIte]
-     rw [ih v rest h.1]
-    simp only [length_append_sub, ↓reduceIte]
-     rw [ih v rest h.1]
-    simp only [length_append_sub, ↓reduceIte]
-     rw [ih v rest h.1]
-    simp only [length_append_sub, ↓reduceIte]
-     rw [ih v rest h.1]
-    simp only [length_append_sub, ↓reduceIte]
-     rw [ih v rest h.1]
-    simp only [length_append_sub, ↓reduceIte]
-·    rw [ih v rest h.1]
-    simp only [length_append_sub, ↓reduceIte]
-     rw [ih v rest h.1]
-    simp only [length_append_sub, ↓reduceIte]
-e    rw [ih v rest h.1]
-    simp only [length_append_sub, ↓reduceIte]
-x    rw [ih v rest h.1]
-    simp only [length_append_sub, ↓reduceIte]
-a    rw [ih v rest h.1]
-    simp only [length_append_sub, ↓reduceIte]
-c    rw [ih v rest h.1]
-    simp only [length_append_sub, ↓reduceIte]
-t    rw [ih v rest h.1]
-    simp only [length_append_sub, ↓reduceIte]
-     rw [ih v rest h.1]
-    simp only [length_append_sub, ↓reduceIte]
-t    rw [ih v rest h.1]
-    simp only [length_append_sub, ↓reduceIte]
-h    rw [ih v rest h.1]
-    simp only [length_append_sub, ↓reduceIte]
-i    rw [ih v rest h.1]
-    simp only [length_append_sub, ↓reduceIte]
-s    rw [ih v rest h.1]
-    simp only [length_append_sub, ↓reduceIte]
-.    rw [ih v rest h.1]
-    simp only [length_append_sub, ↓reduceIte]
-2    rw [ih v rest h.1]
-    simp only [length_append_sub, ↓reduceIte]
-     rw [ih v rest h.1]
-    simp only [length_append_sub, ↓reduceIte]
-x    rw [ih v rest h.1]
-    simp only [length_append_sub, ↓reduceIte]
-     rw [ih v rest h.1]
-    simp only [length_append_sub, ↓reduceIte]
-h    rw [ih v rest h.1]
-    simp only [length_append_sub, ↓reduceIte]
-x    rw [ih v rest h.1]
-    simp only [length_append_sub, ↓reduceIte]
-
-    rw [ih v rest h.1]
-    simp only [length_append_sub, ↓reduceIte]
-     rw [ih v rest h.1]
-    simp only [length_append_sub, ↓reduceIte]
-     rw [ih v rest h.1]
-    simp only [length_append_sub, ↓reduceIte]
-     rw [ih v rest h.1]
-    simp only [length_append_sub, ↓reduceIte]
-     rw [ih v rest h.1]
-    simp only [length_append_sub, ↓reduceIte]
-|    rw [ih v rest h.1]
-    simp only [length_append_sub, ↓reduceIte]
-     rw [ih v rest h.1]
-    simp only [length_append_sub, ↓reduceIte]
-_    rw [ih v rest h.1]
-    simp only [length_append_sub, ↓reduceIte]
-     rw [ih v rest h.1]
-    simp only [length_append_sub, ↓reduceIte]
-=    rw [ih v rest h.1]
-    simp only [length_append_sub, ↓reduceIte]
->    rw [ih v rest h.1]
-    simp only [length_append_sub, ↓reduceIte]
-     rw [ih v rest h.1]
-    simp only [length_append_sub, ↓reduceIte]
-s    rw [ih v rest h.1]
-    simp only [length_append_sub, ↓reduceIte]
-i    rw [ih v rest h.1]
-    simp only [length_append_sub, ↓reduceIte]
-m    rw [ih v rest h.1]
-    simp only [length_append_sub, ↓reduceIte]
-p    rw [ih v rest h.1]
-    simp only [length_append_sub, ↓reduceIte]
-     rw [ih v rest h.1]
-    simp only [length_append_sub, ↓reduceIte]
-[    rw [ih v rest h.1]
-    simp only [length_append_sub, ↓reduceIte]
-a    rw [ih v rest h.1]
-    simp only [length_append_sub, ↓reduceIte]
-l    rw [ih v rest h.1]
-    simp only [length_append_sub, ↓reduceIte]
-l    rw [ih v rest h.1]
-    simp only [length_append_sub, ↓reduceIte]
-S    rw [ih v rest h.1]
-    simp only [length_append_sub, ↓reduceIte]
-t    rw [ih v rest h.1]
-    simp only [length_append_sub, ↓reduceIte]
-r    rw [ih v rest h.1]
-    simp only [length_append_sub, ↓reduceIte]
-]    rw [ih v rest h.1]
-    simp only [length_append_sub, ↓reduceIte]
-     rw [ih v rest h.1]
-    simp only [length_append_sub, ↓reduceIte]
-a    rw [ih v rest h.1]
-    simp only [length_append_sub, ↓reduceIte]
-t    rw [ih v rest h.1]
-    simp only [length_append_sub, ↓reduceIte]
-     rw [ih v rest h.1]
-    simp only [length_append_sub, ↓reduceIte]
-h    rw [ih v rest h.1]
-    simp only [length_append_sub, ↓reduceIte]
-
-    rw [ih v rest h.1]
-    simp only [length_append_sub, ↓reduceIte]
-
-    rw [ih v rest h.1]
-    simp only [length_append_sub, ↓reduceIte]
-t    rw [ih v rest h.1]
-    simp only [length_append_sub, ↓reduceIte]
-h    rw [ih v rest h.1]
-    simp only [length_append_sub, ↓reduceIte]
-e    rw [ih v rest h.1]
-    simp only [length_append_sub, ↓reduceIte]
-o    rw [ih v rest h.1]
-    simp only [length_append_sub, ↓reduceIte]
-r    rw [ih v rest h.1]
-    simp only [length_append_sub, ↓reduceIte]
-e    rw [ih v rest h.1]
-    simp only [length_append_sub, ↓reduceIte]
-m    rw [ih v rest h.1]
-    simp only [length_append_sub, ↓reduceIte]
-     rw [ih v rest h.1]
-    simp only [length_append_sub, ↓reduceIte]
-p    rw [ih v rest h.1]
-    simp only [length_append_sub, ↓reduceIte]
-r    rw [ih v rest h.1]
-    simp only [length_append_sub, ↓reduceIte]
-e    rw [ih v rest h.1]
-    simp only [length_append_sub, ↓reduceIte]
-p    rw [ih v rest h.1]
-    simp only [length_append_sub, ↓reduceIte]
-U    rw [ih v rest h.1]
-    simp only [length_append_sub, ↓reduceIte]
-V    rw [ih v rest h.1]
-    simp only [length_append_sub, ↓reduceIte]
-a    rw [ih v rest h.1]
-    simp only [length_append_sub, ↓reduceIte]
-r    rw [ih v rest h.1]
-    simp only [length_append_sub, ↓reduceIte]
-i    rw [ih v rest h.1]
-    simp only [length_append_sub, ↓reduceIte]
-n    rw [ih v rest h.1]
-    simp only [length_append_sub, ↓reduceIte]
-t    rw [ih v rest h.1]
-    simp only [length_append_sub, ↓reduceIte]
-_    rw [ih v rest h.1]
-    simp only [length_append_sub, ↓reduceIte]
-z    rw [ih v rest h.1]
-    simp only [length_append_sub, ↓reduceIte]
-e    rw [ih v rest h.1]
-    simp only [length_append_sub, ↓reduceIte]
-r    rw [ih v rest h.1]
-    simp only [length_append_sub, ↓reduceIte]
-o    rw [ih v rest h.1]
-    simp only [length_append_sub, ↓reduceIte]
-     rw [ih v rest h.1]
-    simp only [length_append_sub, ↓reduceIte]
-:    rw [ih v rest h.1]
-    simp only [length_append_sub, ↓reduceIte]
-     rw [ih v rest h.1]
-    simp only [length_append_sub, ↓reduceIte]
-p    rw [ih v rest h.1]
-    simp only [length_append_sub, ↓reduceIte]
-r    rw [ih v rest h.1]
-    simp only [length_append_sub, ↓reduceIte]
-e    rw [ih v rest h.1]
-    simp only [length_append_sub, ↓reduceIte]
-p    rw [ih v rest h.1]
-    simp only [length_append_sub, ↓reduceIte]
-U    rw [ih v rest h.1]
-    simp only [length_append_sub, ↓reduceIte]
-V    rw [ih v rest h.1]
-    simp only [length_append_sub, ↓reduceIte]
-a    rw [ih v rest h.1]
-    simp only [length_append_sub, ↓reduceIte]
-r    rw [ih v rest h.1]
-    simp only [length_append_sub, ↓reduceIte]
-i    rw [ih v rest h.1]
-    simp only [length_append_sub, ↓reduceIte]
-n    rw [ih v rest h.1]
-    simp only [length_append_sub, ↓reduceIte]
-t    rw [ih v rest h.1]
-    simp only [length_append_sub, ↓reduceIte]
-     rw [ih v rest h.1]
-    simp only [length_append_sub, ↓reduceIte]
-0    rw [ih v rest h.1]
-    simp only [length_append_sub, ↓reduceIte]
-     rw [ih v rest h.1]
-    simp only [length_append_sub, ↓reduceIte]
-=    rw [ih v rest h.1]
-    simp only [length_append_sub, ↓reduceIte]
-     rw [ih v rest h.1]
-    simp only [length_append_sub, ↓reduceIte]
-p    rw [ih v rest h.1]
-    simp only [length_append_sub, ↓reduceIte]
-u    rw [ih v rest h.1]
-    simp only [length_append_sub, ↓reduceIte]
-t    rw [ih v rest h.1]
-    simp only [length_append_sub, ↓reduceIte]
-E    rw [ih v rest h.1]
-    simp only [length_append_sub, ↓reduceIte]
-m    rw [ih v rest h.1]
-    simp only [length_append_sub, ↓reduceIte]
-p    rw [ih v rest h.1]
-    simp only [length_append_sub, ↓reduceIte]
-t    rw [ih v rest h.1]
-    simp only [length_append_sub, ↓reduceIte]
-y    rw [ih v rest h.1]
-    simp only [length_append_sub, ↓reduceIte]
-T    rw [ih v rest h.1]
-    simp only [length_append_sub, ↓reduceIte]
-a    rw [ih v rest h.1]
-    simp only [length_append_sub, ↓reduceIte]
-g    rw [ih v rest h.1]
-    simp only [length_append_sub, ↓reduceIte]
-g    rw [ih v rest h.1]
-    simp only [length_append_sub, ↓reduceIte]
-e    rw [ih v rest h.1]
-    simp only [length_append_sub, ↓reduceIte]
-d    rw [ih v rest h.1]
-    simp only [length_append_sub, ↓reduceIte]
-.    rw [ih v rest h.1]
-    simp only [length_append_sub, ↓reduceIte]
-l    rw [ih v rest h.1]
-    simp only [length_append_sub, ↓reduceIte]
-e    rw [ih v rest h.1]
-    simp only [length_append_sub, ↓reduceIte]
-n    rw [ih v rest h.1]
-    simp only [length_append_sub, ↓reduceIte]
-g    rw [ih v rest h.1]
-    simp only [length_append_sub, ↓reduceIte]
-t    rw [ih v rest h.1]
-    simp only [length_append_sub, ↓reduceIte]
-h    rw [ih v rest h.1]
-    simp only [length_append_sub, ↓reduceIte]
-     rw [ih v rest h.1]
-    simp only [length_append_sub, ↓reduceIte]
-:    rw [ih v rest h.1]
-    simp only [length_append_sub, ↓reduceIte]
-=    rw [ih v rest h.1]
-    simp only [length_append_sub, ↓reduceIte]
-     rw [ih v rest h.1]
-    simp only [length_append_sub, ↓reduceIte]
-b    rw [ih v rest h.1]
-    simp only [length_append_sub, ↓reduceIte]
-y    rw [ih v rest h.1]
-    simp only [length_append_sub, ↓reduceIte]
-     rw [ih v rest h.1]
-    simp only [length_append_sub, ↓reduceIte]
-d    rw [ih v rest h.1]
-    simp only [length_append_sub, ↓reduceIte]
-e    rw [ih v rest h.1]
-    simp only [length_append_sub, ↓reduceIte]
-c    rw [ih v rest h.1]
-    simp only [length_append_sub, ↓reduceIte]
-i    rw [ih v rest h.1]
-    simp only [length_append_sub, ↓reduceIte]
-d    rw [ih v rest h.1]
-    simp only [length_append_sub, ↓reduceIte]
-e    rw [ih v rest h.1]
-    simp only [length_append_sub, ↓reduceIte]
-
-    rw [ih v rest h.1]
-    simp only [length_append_sub, ↓reduceIte]
-
-    rw [ih v rest h.1]
-    simp only [length_append_sub, ↓reduceIte]
-/    rw [ih v rest h.1]
-    simp only [length_append_sub, ↓reduceIte]
--    rw [ih v rest h.1]
-    simp only [length_append_sub, ↓reduceIte]
--    rw [ih v rest h.1]
-    simp only [length_append_sub, ↓reduceIte]
-     rw [ih v rest h.1]
-    simp only [length_append_sub, ↓reduceIte]
-b    rw [ih v rest h.1]
-    simp only [length_append_sub, ↓reduceIte]
-o    rw [ih v rest h.1]
-    simp only [length_append_sub, ↓reduceIte]
-t    rw [ih v rest h.1]
-    simp only [length_append_sub, ↓reduceIte]
-h    rw [ih v rest h.1]
-    simp only [length_append_sub, ↓reduceIte]
-     rw [ih v rest h.1]
-    simp only [length_append_sub, ↓reduceIte]
-e    rw [ih v rest h.1]
-    simp only [length_append_sub, ↓reduceIte]
-n    rw [ih v rest h.1]
-    simp only [length_append_sub, ↓reduceIte]
-c    rw [ih v rest h.1]
-    simp only [length_append_sub, ↓reduceIte]
-o    rw [ih v rest h.1]
-    simp only [length_append_sub, ↓reduceIte]
-d    rw [ih v rest h.1]
-    simp only [length_append_sub, ↓reduceIte]
-e    rw [ih v rest h.1]
-    simp only [length_append_sub, ↓reduceIte]
-r    rw [ih v rest h.1]
-    simp only [length_append_sub, ↓reduceIte]
-     rw [ih v rest h.1]
-    simp only [length_append_sub, ↓reduceIte]
-p    rw [ih v rest h.1]
-    simp only [length_append_sub, ↓reduceIte]
-a    rw [ih v rest h.1]
-    simp only [length_append_sub, ↓reduceIte]
-s    rw [ih v rest h.1]
-    simp only [length_append_sub, ↓reduceIte]
-s    rw [ih v rest h.1]
-    simp only [length_append_sub, ↓reduceIte]
-e    rw [ih v rest h.1]
-    simp only [length_append_sub, ↓reduceIte]
-s    rw [ih v rest h.1]
-    simp only [length_append_sub, ↓reduceIte]
-     rw [ih v rest h.1]
-    simp only [length_append_sub, ↓reduceIte]
-a    rw [ih v rest h.1]
-    simp only [length_append_sub, ↓reduceIte]
-g    rw [ih v rest h.1]
-    simp only [length_append_sub, ↓reduceIte]
-r    rw [ih v rest h.1]
-    simp only [length_append_sub, ↓reduceIte]
-e    rw [ih v rest h.1]
-    simp only [length_append_sub, ↓reduceIte]
-e    rw [ih v rest h.1]
-    simp only [length_append_sub, ↓reduceIte]
-     rw [ih v rest h.1]
-    simp only [length_append_sub, ↓reduceIte]
-o    rw [ih v rest h.1]
-    simp only [length_append_sub, ↓reduceIte]
-n    rw [ih v rest h.1]
-    simp only [length_append_sub, ↓reduceIte]
-     rw [ih v rest h.1]
-    simp only [length_append_sub, ↓reduceIte]
-e    rw [ih v rest h.1]
-    simp only [length_append_sub, ↓reduceIte]
-v    rw [ih v rest h.1]
-    simp only [length_append_sub, ↓reduceIte]
-e    rw [ih v rest h.1]
-    simp only [length_append_sub, ↓reduceIte]
-r    rw [ih v rest h.1]
-    simp only [length_append_sub, ↓reduceIte]
-y    rw [ih v rest h.1]
-    simp only [length_append_sub, ↓reduceIte]
-     rw [ih v rest h.1]
-    simp only [length_append_sub, ↓reduceIte]
-p    rw [ih v rest h.1]
-    simp only [length_append_sub, ↓reduceIte]
-r    rw [ih v rest h.1]
-    simp only [length_append_sub, ↓reduceIte]
-i    rw [ih v rest h.1]
-    simp only [length_append_sub, ↓reduceIte]
-m    rw [ih v rest h.1]
-    simp only [length_append_sub, ↓reduceIte]
-i    rw [ih v rest h.1]
-    simp only [length_append_sub, ↓reduceIte]
-t    rw [ih v rest h.1]
-    simp only [length_append_sub, ↓reduceIte]
-i    rw [ih v rest h.1]
-    simp only [length_append_sub, ↓reduceIte]
-v    rw [ih v rest h.1]
-    simp only [length_append_sub, ↓reduceIte]
-e    rw [ih v rest h.1]
-    simp only [length_append_sub, ↓reduceIte]
-,    rw [ih v rest h.1]
-    simp only [length_append_sub, ↓reduceIte]
-     rw [ih v rest h.1]
-    simp only [length_append_sub, ↓reduceIte]
-f    rw [ih v rest h.1]
-    simp only [length_append_sub, ↓reduceIte]
-o    rw [ih v rest h.1]
-    simp only [length_append_sub, ↓reduceIte]
-r    rw [ih v rest h.1]
-    simp only [length_append_sub, ↓reduceIte]
-     rw [ih v rest h.1]
-    simp only [length_append_sub, ↓reduceIte]
-e    rw [ih v rest h.1]
-    simp only [length_append_sub, ↓reduceIte]
-v    rw [ih v rest h.1]
-    simp only [length_append_sub, ↓reduceIte]
-e    rw [ih v rest h.1]
-    simp only [length_append_sub, ↓reduceIte]
-r    rw [ih v rest h.1]
-    simp only [length_append_sub, ↓reduceIte]
-y    rw [ih v rest h.1]
-    simp only [length_append_sub, ↓reduceIte]
-     rw [ih v rest h.1]
-    simp only [length_append_sub, ↓reduceIte]
-v    rw [ih v rest h.1]
-    simp only [length_append_sub, ↓reduceIte]
-a    rw [ih v rest h.1]
-    simp only [length_append_sub, ↓reduceIte]
-l    rw [ih v rest h.1]
-    simp only [length_append_sub, ↓reduceIte]
-u    rw [ih v rest h.1]
-    simp only [length_append_sub, ↓reduceIte]
-e    rw [ih v rest h.1]
-    simp only [length_append_sub, ↓reduceIte]
-     rw [ih v rest h.1]
-    simp only [length_append_sub, ↓reduceIte]
-(    rw [ih v rest h.1]
-    simp only [length_append_sub, ↓reduceIte]
-a    rw [ih v rest h.1]
-    simp only [length_append_sub, ↓reduceIte]
-l    rw [ih v rest h.1]
-    simp only [length_append_sub, ↓reduceIte]
-s    rw [ih v rest h.1]
-    simp only [length_append_sub, ↓reduceIte]
-o    rw [ih v rest h.1]
-    simp only [length_append_sub, ↓reduceIte]
-     rw [ih v rest h.1]
-    simp only [length_append_sub, ↓reduceIte]
-i    rw [ih v rest h.1]
-    simp only [length_append_sub, ↓reduceIte]
-l    rw [ih v rest h.1]
-    simp only [length_append_sub, ↓reduceIte]
-l    rw [ih v rest h.1]
-    simp only [length_append_sub, ↓reduceIte]
--    rw [ih v rest h.1]
-    simp only [length_append_sub, ↓reduceIte]
-t    rw [ih v rest h.1]
-    simp only [length_append_sub, ↓reduceIte]
-y    rw [ih v rest h.1]
-    simp only [length_append_sub, ↓reduceIte]
-p    rw [ih v rest h.1]
-    simp only [length_append_sub, ↓reduceIte]
-e    rw [ih v rest h.1]
-    simp only [length_append_sub, ↓reduceIte]
-d    rw [ih v rest h.1]
-    simp only [length_append_sub, ↓reduceIte]
-     rw [ih v rest h.1]
-    simp only [length_append_sub, ↓reduceIte]
-o    rw [ih v rest h.1]
-    simp only [length_append_sub, ↓reduceIte]
-n    rw [ih v rest h.1]
-    simp only [length_append_sub, ↓reduceIte]
-e    rw [ih v rest h.1]
-    simp only [length_append_sub, ↓reduceIte]
-s    rw [ih v rest h.1]
-    simp only [length_append_sub, ↓reduceIte]
-:    rw [ih v rest h.1]
-    simp only [length_append_sub, ↓reduceIte]
-     rw [ih v rest h.1]
-    simp only [length_append_sub, ↓reduceIte]
-n    rw [ih v rest h.1]
-    simp only [length_append_sub, ↓reduceIte]
-o    rw [ih v rest h.1]
-    simp only [length_append_sub, ↓reduceIte]
-t    rw [ih v rest h.1]
-    simp only [length_append_sub, ↓reduceIte]
-h    rw [ih v rest h.1]
-    simp only [length_append_sub, ↓reduceIte]
-i    rw [ih v rest h.1]
-    simp only [length_append_sub, ↓reduceIte]
-n    rw [ih v rest h.1]
-    simp only [length_append_sub, ↓reduceIte]
-g    rw [ih v rest h.1]
-    simp only [length_append_sub, ↓reduceIte]
-     rw [ih v rest h.1]
-    simp only [length_append_sub, ↓reduceIte]
-i    rw [ih v rest h.1]
-    simp only [length_append_sub, ↓reduceIte]
-s    rw [ih v rest h.1]
-    simp only [length_append_sub, ↓reduceIte]
-     rw [ih v rest h.1]
-    simp only [length_append_sub, ↓reduceIte]
-w    rw [ih v rest h.1]
-    simp only [length_append_sub, ↓reduceIte]
-r    rw [ih v rest h.1]
-    simp only [length_append_sub, ↓reduceIte]
-i    rw [ih v rest h.1]
-    simp only [length_append_sub, ↓reduceIte]
-t    rw [ih v rest h.1]
-    simp only [length_append_sub, ↓reduceIte]
-t    rw [ih v rest h.1]
-    simp only [length_append_sub, ↓reduceIte]
-e    rw [ih v rest h.1]
-    simp only [length_append_sub, ↓reduceIte]
-n    rw [ih v rest h.1]
-    simp only [length_append_sub, ↓reduceIte]
-)    rw [ih v rest h.1]
-    simp only [length_append_sub, ↓reduceIte]
-     rw [ih v rest h.1]
-    simp only [length_append_sub, ↓reduceIte]
--    rw [ih v rest h.1]
-    simp only [length_append_sub, ↓reduceIte]
-/    rw [ih v rest h.1]
-    simp only [length_append_sub, ↓reduceIte]
-
-    rw [ih v rest h.1]
-    simp only [length_append_sub, ↓reduceIte]
-t    rw [ih v rest h.1]
-    simp only [length_append_sub, ↓reduceIte]
-h    rw [ih v rest h.1]
-    simp only [length_append_sub, ↓reduceIte]
-e    rw [ih v rest h.1]
-    simp only [length_append_sub, ↓reduceIte]
-o    rw [ih v rest h.1]
-    simp only [length_append_sub, ↓reduceIte]
-r    rw [ih v rest h.1]
-    simp only [length_append_sub, ↓reduceIte]
-e    rw [ih v rest h.1]
-    simp only [length_append_sub, ↓reduceIte]
-m    rw [ih v rest h.1]
-    simp only [length_append_sub, ↓reduceIte]
-     rw [ih v rest h.1]
-    simp only [length_append_sub, ↓reduceIte]
-s    rw [ih v rest h.1]
-    simp only [length_append_sub, ↓reduceIte]
-i    rw [ih v rest h.1]
-    simp only [length_append_sub, ↓reduceIte]
-z    rw [ih v rest h.1]
-    simp only [length_append_sub, ↓reduceIte]
-e    rw [ih v rest h.1]
-    simp only [length_append_sub, ↓reduceIte]
-P    rw [ih v rest h.1]
-    simp only [length_append_sub, ↓reduceIte]
-_    rw [ih v rest h.1]
-    simp only [length_append_sub, ↓reduceIte]
-e    rw [ih v rest h.1]
-    simp only [length_append_sub, ↓reduceIte]
-q    rw [ih v rest h.1]
-    simp only [length_append_sub, ↓reduceIte]
-     rw [ih v rest h.1]
-    simp only [length_append_sub, ↓reduceIte]
-(    rw [ih v rest h.1]
-    simp only [length_append_sub, ↓reduceIte]
-p    rw [ih v rest h.1]
-    simp only [length_append_sub, ↓reduceIte]
-     rw [ih v rest h.1]
-    simp only [length_append_sub, ↓reduceIte]
-:    rw [ih v rest h.1]
-    simp only [length_append_sub, ↓reduceIte]
-     rw [ih v rest h.1]
-    simp only [length_append_sub, ↓reduceIte]
-P    rw [ih v rest h.1]
-    simp only [length_append_sub, ↓reduceIte]
-r    rw [ih v rest h.1]
-    simp only [length_append_sub, ↓reduceIte]
-i    rw [ih v rest h.1]
-    simp only [length_append_sub, ↓reduceIte]
-m    rw [ih v rest h.1]
-    simp only [length_append_sub, ↓reduceIte]
-)    rw [ih v rest h.1]
-    simp only [length_append_sub, ↓reduceIte]
-     rw [ih v rest h.1]
-    simp only [length_append_sub, ↓reduceIte]
-(    rw [ih v rest h.1]
-    simp only [length_append_sub, ↓reduceIte]
-v    rw [ih v rest h.1]
-    simp only [length_append_sub, ↓reduceIte]
-     rw [ih v rest h.1]
-    simp only [length_append_sub, ↓reduceIte]
-:    rw [ih v rest h.1]
-    simp only [length_append_sub, ↓reduceIte]
-     rw [ih v rest h.1]
-    simp only [length_append_sub, ↓reduceIte]
-V    rw [ih v rest h.1]
-    simp only [length_append_sub, ↓reduceIte]
-a    rw [ih v rest h.1]
-    simp only [length_append_sub, ↓reduceIte]
-l    rw [ih v rest h.1]
-    simp only [length_append_sub, ↓reduceIte]
-)    rw [ih v rest h.1]
-    simp only [length_append_sub, ↓reduceIte]
-     rw [ih v rest h.1]
-    simp only [length_append_sub, ↓reduceIte]
-:    rw [ih v rest h.1]
-    simp only [length_append_sub, ↓reduceIte]
-     rw [ih v rest h.1]
-    simp only [length_append_sub, ↓reduceIte]
-s    rw [ih v rest h.1]
-    simp only [length_append_sub, ↓reduceIte]
-i    rw [ih v rest h.1]
-    simp only [length_append_sub, ↓reduceIte]
-z    rw [ih v rest h.1]
-    simp only [length_append_sub, ↓reduceIte]
-e    rw [ih v rest h.1]
-    simp only [length_append_sub, ↓reduceIte]
-P    rw [ih v rest h.1]
-    simp only [length_append_sub, ↓reduceIte]
-     rw [ih v rest h.1]
-    simp only [length_append_sub, ↓reduceIte]
-p    rw [ih v rest h.1]
-    simp only [length_append_sub, ↓reduceIte]
-     rw [ih v rest h.1]
-    simp only [length_append_sub, ↓reduceIte]
-v    rw [ih v rest h.1]
-    simp only [length_append_sub, ↓reduceIte]
-     rw [ih v rest h.1]
-    simp only [length_append_sub, ↓reduceIte]
-=    rw [ih v rest h.1]
-    simp only [length_append_sub, ↓reduceIte]
-     rw [ih v rest h.1]
-    simp only [length_append_sub, ↓reduceIte]
-(    rw [ih v rest h.1]
-    simp only [length_append_sub, ↓reduceIte]
-e    rw [ih v rest h.1]
-    simp only [length_append_sub, ↓reduceIte]
-n    rw [ih v rest h.1]
-    simp only [length_append_sub, ↓reduceIte]
-c    rw [ih v rest h.1]
-    simp only [length_append_sub, ↓reduceIte]
-P    rw [ih v rest h.1]
-    simp only [length_append_sub, ↓reduceIte]
-     rw [ih v rest h.1]
-    simp only [length_append_sub, ↓reduceIte]
-p    rw [ih v rest h.1]
-    simp only [length_append_sub, ↓reduceIte]
-     rw [ih v rest h.1]
-    simp only [length_append_sub, ↓reduceIte]
-v    rw [ih v rest h.1]
-    simp only [length_append_sub, ↓reduceIte]
-)    rw [ih v rest h.1]
-    simp only [length_append_sub, ↓reduceIte]
-.    rw [ih v rest h.1]
-    simp only [length_append_sub, ↓reduceIte]
-l    rw [ih v rest h.1]
-    simp only [length_append_sub, ↓reduceIte]
-e    rw [ih v rest h.1]
-    simp only [length_append_sub, ↓reduceIte]
-n    rw [ih v rest h.1]
-    simp only [length_append_sub, ↓reduceIte]
-g    rw [ih v rest h.1]
-    simp only [length_append_sub, ↓reduceIte]
-t    rw [ih v rest h.1]
-    simp only [length_append_sub, ↓reduceIte]
-h    rw [ih v rest h.1]
-    simp only [length_append_sub, ↓reduceIte]
-     rw [ih v rest h.1]
-    simp only [length_append_sub, ↓reduceIte]
-:    rw [ih v rest h.1]
-    simp only [length_append_sub, ↓reduceIte]
-=    rw [ih v rest h.1]
-    simp only [length_append_sub, ↓reduceIte]
-     rw [ih v rest h.1]
-    simp only [length_append_sub, ↓reduceIte]
-b    rw [ih v rest h.1]
-    simp only [length_append_sub, ↓reduceIte]
-y    rw [ih v rest h.1]
-    simp only [length_append_sub, ↓reduceIte]
-
-    rw [ih v rest h.1]
-    simp only [length_append_sub, ↓reduceIte]
-     rw [ih v rest h.1]
-    simp only [length_append_sub, ↓reduceIte]
-     rw [ih v rest h.1]
-    simp only [length_append_sub, ↓reduceIte]
-c    rw [ih v rest h.1]
-    simp only [length_append_sub, ↓reduceIte]
-a    rw [ih v rest h.1]
-    simp only [length_append_sub, ↓reduceIte]
-s    rw [ih v rest h.1]
-    simp only [length_append_sub, ↓reduceIte]
-e    rw [ih v rest h.1]
-    simp only [length_append_sub, ↓reduceIte]
-s    rw [ih v rest h.1]
-    simp only [length_append_sub, ↓reduceIte]
-     rw [ih v rest h.1]
-    simp only [length_append_sub, ↓reduceIte]
-p    rw [ih v rest h.1]
-    simp only [length_append_sub, ↓reduceIte]
-     rw [ih v rest h.1]
-    simp only [length_append_sub, ↓reduceIte]
-<    rw [ih v rest h.1]
-    simp only [length_append_sub, ↓reduceIte]
-;    rw [ih v rest h.1]
-    simp only [length_append_sub, ↓reduceIte]
->    rw [ih v rest h.1]
-    simp only [length_append_sub, ↓reduceIte]
-     rw [ih v rest h.1]
-    simp only [length_append_sub, ↓reduceIte]
-c    rw [ih v rest h.1]
-    simp only [length_append_sub, ↓reduceIte]
-a    rw [ih v rest h.1]
-    simp only [length_append_sub, ↓reduceIte]
-s    rw [ih v rest h.1]
-    simp only [length_append_sub, ↓reduceIte]
-e    rw [ih v rest h.1]
-    simp only [length_append_sub, ↓reduceIte]
-s    rw [ih v rest h.1]
-    simp only [length_append_sub, ↓reduceIte]
-     rw [ih v rest h.1]
-    simp only [length_append_sub, ↓reduceIte]
-v    rw [ih v rest h.1]
-    simp only [length_append_sub, ↓reduceIte]
-     rw [ih v rest h.1]
-    simp only [length_append_sub, ↓reduceIte]
-<    rw [ih v rest h.1]
-    simp only [length_append_sub, ↓reduceIte]
-;    rw [ih v rest h.1]
-    simp only [length_append_sub, ↓reduceIte]
->    rw [ih v rest h.1]
-    simp only [length_append_sub, ↓reduceIte]
-
-    rw [ih v rest h.1]
-    simp only [length_append_sub, ↓reduceIte]
-     rw [ih v rest h.1]
-    simp only [length_append_sub, ↓reduceIte]
-     rw [ih v rest h.1]
-    simp only [length_append_sub, ↓reduceIte]
-     rw [ih v rest h.1]
-    simp only [length_append_sub, ↓reduceIte]
-     rw [ih v rest h.1]
-    simp only [length_append_sub, ↓reduceIte]
-s    rw [ih v rest h.1]
-    simp only [length_append_sub, ↓reduceIte]
-i    rw [ih v rest h.1]
-    simp only [length_append_sub, ↓reduceIte]
-m    rw [ih v rest h.1]
-    simp only [length_append_sub, ↓reduceIte]
-p    rw [ih v rest h.1]
-    simp only [length_append_sub, ↓reduceIte]
-     rw [ih v rest h.1]
-    simp only [length_append_sub, ↓reduceIte]
-o    rw [ih v rest h.1]
-    simp only [length_append_sub, ↓reduceIte]
-n    rw [ih v rest h.1]
-    simp only [length_append_sub, ↓reduceIte]
-l    rw [ih v rest h.1]
-    simp only [length_append_sub, ↓reduceIte]
-y    rw [ih v rest h.1]
-    simp only [length_append_sub, ↓reduceIte]
-     rw [ih v rest h.1]
-    simp only [length_append_sub, ↓reduceIte]
-[    rw [ih v rest h.1]
-    simp only [length_append_sub, ↓reduceIte]
-s    rw [ih v rest h.1]
-    simp only [length_append_sub, ↓reduceIte]
-i    rw [ih v rest h.1]
-    simp only [length_append_sub, ↓reduceIte]
-z    rw [ih v rest h.1]
-    simp only [length_append_sub, ↓reduceIte]
-e    rw [ih v rest h.1]
-    simp only [length_append_sub, ↓reduceIte]
-P    rw [ih v rest h.1]
-    simp only [length_append_sub, ↓reduceIte]
-,    rw [ih v rest h.1]
-    simp only [length_append_sub, ↓reduceIte]
-     rw [ih v rest h.1]
-    simp only [length_append_sub, ↓reduceIte]
-e    rw [ih v rest h.1]
-    simp only [length_append_sub, ↓reduceIte]
-n    rw [ih v rest h.1]
-    simp only [length_append_sub, ↓reduceIte]
-c    rw [ih v rest h.1]
-    simp only [length_append_sub, ↓reduceIte]
-P    rw [ih v rest h.1]
-    simp only [length_append_sub, ↓reduceIte]
-,    rw [ih v rest h.1]
-    simp only [length_append_sub, ↓reduceIte]
-     rw [ih v rest h.1]
-    simp only [length_append_sub, ↓reduceIte]
-p    rw [ih v rest h.1]
-    simp only [length_append_sub, ↓reduceIte]
-u    rw [ih v rest h.1]
-    simp only [length_append_sub, ↓reduceIte]
-t    rw [ih v rest h.1]
-    simp only [length_append_sub, ↓reduceIte]
-I    rw [ih v rest h.1]
-    simp only [length_append_sub, ↓reduceIte]
-n    rw [ih v rest h.1]
-    simp only [length_append_sub, ↓reduceIte]
-t    rw [ih v rest h.1]
-    simp only [length_append_sub, ↓reduceIte]
-_    rw [ih v rest h.1]
-    simp only [length_append_sub, ↓reduceIte]
-l    rw [ih v rest h.1]
-    simp only [length_append_sub, ↓reduceIte]
-e    rw [ih v rest h.1]
-    simp only [length_append_sub, ↓reduceIte]
-n    rw [ih v rest h.1]
-    simp only [length_append_sub, ↓reduceIte]
-g    rw [ih v rest h.1]
-    simp only [length_append_sub, ↓reduceIte]
-t    rw [ih v rest h.1]
-    simp only [length_append_sub, ↓reduceIte]
-h    rw [ih v rest h.1]
-    simp only [length_append_sub, ↓reduceIte]
-,    rw [ih v rest h.1]
-    simp only [length_append_sub, ↓reduceIte]
-     rw [ih v rest h.1]
-    simp only [length_append_sub, ↓reduceIte]
-p    rw [ih v rest h.1]
-    simp only [length_append_sub, ↓reduceIte]
-r    rw [ih v rest h.1]
-    simp only [length_append_sub, ↓reduceIte]
-e    rw [ih v rest h.1]
-    simp only [length_append_sub, ↓reduceIte]
-p    rw [ih v rest h.1]
-    simp only [length_append_sub, ↓reduceIte]
-V    rw [ih v rest h.1]
-    simp only [length_append_sub, ↓reduceIte]
-a    rw [ih v rest h.1]
-    simp only [length_append_sub, ↓reduceIte]
-r    rw [ih v rest h.1]
-    simp only [length_append_sub, ↓reduceIte]
-i    rw [ih v rest h.1]
-    simp only [length_append_sub, ↓reduceIte]
-n    rw [ih v rest h.1]
-    simp only [length_append_sub, ↓reduceIte]
-t    rw [ih v rest h.1]
-    simp only [length_append_sub, ↓reduceIte]
-,    rw [ih v rest h.1]
-    simp only [length_append_sub, ↓reduceIte]
-     rw [ih v rest h.1]
-    simp only [length_append_sub, ↓reduceIte]
-p    rw [ih v rest h.1]
-    simp only [length_append_sub, ↓reduceIte]
-r    rw [ih v rest h.1]
-    simp only [length_append_sub, ↓reduceIte]
-e    rw [ih v rest h.1]
-    simp only [length_append_sub, ↓reduceIte]
-p    rw [ih v rest h.1]
-    simp only [length_append_sub, ↓reduceIte]
-U    rw [ih v rest h.1]
-    simp only [length_append_sub, ↓reduceIte]
-V    rw [ih v rest h.1]
-    simp only [length_append_sub, ↓reduceIte]
-a    rw [ih v rest h.1]
-    simp only [length_append_sub, ↓reduceIte]
-r    rw [ih v rest h.1]
-    simp only [length_append_sub, ↓reduceIte]
-i    rw [ih v rest h.1]
-    simp only [length_append_sub, ↓reduceIte]
-n    rw [ih v rest h.1]
-    simp only [length_append_sub, ↓reduceIte]
-t    rw [ih v rest h.1]
-    simp only [length_append_sub, ↓reduceIte]
-,    rw [ih v rest h.1]
-    simp only [length_append_sub, ↓reduceIte]
-     rw [ih v rest h.1]
-    simp only [length_append_sub, ↓reduceIte]
-p    rw [ih v rest h.1]
-    simp only [length_append_sub, ↓reduceIte]
-r    rw [ih v rest h.1]
-    simp only [length_append_sub, ↓reduceIte]
-e    rw [ih v rest h.1]
-    simp only [length_append_sub, ↓reduceIte]
-p    rw [ih v rest h.1]
-    simp only [length_append_sub, ↓reduceIte]
-B    rw [ih v rest h.1]
-    simp only [length_append_sub, ↓reduceIte]
-y    rw [ih v rest h.1]
-    simp only [length_append_sub, ↓reduceIte]
-t    rw [ih v rest h.1]
-    simp only [length_append_sub, ↓reduceIte]
-e    rw [ih v rest h.1]
-    simp only [length_append_sub, ↓reduceIte]
-s    rw [ih v rest h.1]
-    simp only [length_append_sub, ↓reduceIte]
-_    rw [ih v rest h.1]
-    simp only [length_append_sub, ↓reduceIte]
-e    rw [ih v rest h.1]
-    simp only [length_append_sub, ↓reduceIte]
-q    rw [ih v rest h.1]
-    simp only [length_append_sub, ↓reduceIte]
-,    rw [ih v rest h.1]
-    simp only [length_append_sub, ↓reduceIte]
-     rw [ih v rest h.1]
-    simp only [length_append_sub, ↓reduceIte]
-p    rw [ih v rest h.1]
-    simp only [length_append_sub, ↓reduceIte]
-r    rw [ih v rest h.1]
-    simp only [length_append_sub, ↓reduceIte]
-e    rw [ih v rest h.1]
-    simp only [length_append_sub, ↓reduceIte]
-p    rw [ih v rest h.1]
-    simp only [length_append_sub, ↓reduceIte]
-V    rw [ih v rest h.1]
-    simp only [length_append_sub, ↓reduceIte]
-a    rw [ih v rest h.1]
-    simp only [length_append_sub, ↓reduceIte]
-r    rw [ih v rest h.1]
-    simp only [length_append_sub, ↓reduceIte]
-i    rw [ih v rest h.1]
-    simp only [length_append_sub, ↓reduceIte]
-n    rw [ih v rest h.1]
-    simp only [length_append_sub, ↓reduceIte]
-t    rw [ih v rest h.1]
-    simp only [length_append_sub, ↓reduceIte]
-B    rw [ih v rest h.1]
-    simp only [length_append_sub, ↓reduceIte]
-y    rw [ih v rest h.1]
-    simp only [length_append_sub, ↓reduceIte]
-t    rw [ih v rest h.1]
-    simp only [length_append_sub, ↓reduceIte]
-e    rw [ih v rest h.1]
-    simp only [length_append_sub, ↓reduceIte]
-s    rw [ih v rest h.1]
-    simp only [length_append_sub, ↓reduceIte]
-_    rw [ih v rest h.1]
-    simp only [length_append_sub, ↓reduceIte]
-e    rw [ih v rest h.1]
-    simp only [length_append_sub, ↓reduceIte]
-q    rw [ih v rest h.1]
-    simp only [length_append_sub, ↓reduceIte]
-,    rw [ih v rest h.1]
-    simp only [length_append_sub, ↓reduceIte]
-
-    rw [ih v rest h.1]
-    simp only [length_append_sub, ↓reduceIte]
-     rw [ih v rest h.1]
-    simp only [length_append_sub, ↓reduceIte]
-     rw [ih v rest h.1]
-    simp only [length_append_sub, ↓reduceIte]
-     rw [ih v rest h.1]
-    simp only [length_append_sub, ↓reduceIte]
-     rw [ih v rest h.1]
-    simp only [length_append_sub, ↓reduceIte]
-     rw [ih v rest h.1]
-    simp only [length_append_sub, ↓reduceIte]
-     rw [ih v rest h.1]
-    simp only [length_append_sub, ↓reduceIte]
-p    rw [ih v rest h.1]
-    simp only [length_append_sub, ↓reduceIte]
-r    rw [ih v rest h.1]
-    simp only [length_append_sub, ↓reduceIte]
-e    rw [ih v rest h.1]
-    simp only [length_append_sub, ↓reduceIte]
-p    rw [ih v rest h.1]
-    simp only [length_append_sub, ↓reduceIte]
-C    rw [ih v rest h.1]
-    simp only [length_append_sub, ↓reduceIte]
-o    rw [ih v rest h.1]
-    simp only [length_append_sub, ↓reduceIte]
-m    rw [ih v rest h.1]
-    simp only [length_append_sub, ↓reduceIte]
-p    rw [ih v rest h.1]
-    simp only [length_append_sub, ↓reduceIte]
-a    rw [ih v rest h.1]
-    simp only [length_append_sub, ↓reduceIte]
-c    rw [ih v rest h.1]
-    simp only [length_append_sub, ↓reduceIte]
-t    rw [ih v rest h.1]
-    simp only [length_append_sub, ↓reduceIte]
-B    rw [ih v rest h.1]
-    simp only [length_append_sub, ↓reduceIte]
-y    rw [ih v rest h.1]
-    simp only [length_append_sub, ↓reduceIte]
-t    rw [ih v rest h.1]
-    simp only [length_append_sub, ↓reduceIte]
-e    rw [ih v rest h.1]
-    simp only [length_append_sub, ↓reduceIte]
-s    rw [ih v rest h.1]
-    simp only [length_append_sub, ↓reduceIte]
-_    rw [ih v rest h.1]
-    simp only [length_append_sub, ↓reduceIte]
-e    rw [ih v rest h.1]
-    simp only [length_append_sub, ↓reduceIte]
-q    rw [ih v rest h.1]
-    simp only [length_append_sub, ↓reduceIte]
-,    rw [ih v rest h.1]
-    simp only [length_append_sub, ↓reduceIte]
-     rw [ih v rest h.1]
-    simp only [length_append_sub, ↓reduceIte]
-p    rw [ih v rest h.1]
-    simp only [length_append_sub, ↓reduceIte]
-r    rw [ih v rest h.1]
-    simp only [length_append_sub, ↓reduceIte]
-e    rw [ih v rest h.1]
-    simp only [length_append_sub, ↓reduceIte]
-p    rw [ih v rest h.1]
-    simp only [length_append_sub, ↓reduceIte]
-S    rw [ih v rest h.1]
-    simp only [length_append_sub, ↓reduceIte]
-t    rw [ih v rest h.1]
-    simp only [length_append_sub, ↓reduceIte]
-r    rw [ih v rest h.1]
-    simp only [length_append_sub, ↓reduceIte]
-i    rw [ih v rest h.1]
-    simp only [length_append_sub, ↓reduceIte]
-n    rw [ih v rest h.1]
-    simp only [length_append_sub, ↓reduceIte]
-g    rw [ih v rest h.1]
-    simp only [length_append_sub, ↓reduceIte]
-_    rw [ih v rest h.1]
-    simp only [length_append_sub, ↓reduceIte]
-e    rw [ih v rest h.1]
-    simp only [length_append_sub, ↓reduceIte]
-q    rw [ih v rest h.1]
-    simp only [length_append_sub, ↓reduceIte]
-,    rw [ih v rest h.1]
-    simp only [length_append_sub, ↓reduceIte]
-     rw [ih v rest h.1]
-    simp only [length_append_sub, ↓reduceIte]
-p    rw [ih v rest h.1]
-    simp only [length_append_sub, ↓reduceIte]
-r    rw [ih v rest h.1]
-    simp only [length_append_sub, ↓reduceIte]
-e    rw [ih v rest h.1]
-    simp only [length_append_sub, ↓reduceIte]
-p    rw [ih v rest h.1]
-    simp only [length_append_sub, ↓reduceIte]
-N    rw [ih v rest h.1]
-    simp only [length_append_sub, ↓reduceIte]
-u    rw [ih v rest h.1]
-    simp only [length_append_sub, ↓reduceIte]
-l    rw [ih v rest h.1]
-    simp only [length_append_sub, ↓reduceIte]
-l    rw [ih v rest h.1]
-    simp only [length_append_sub, ↓reduceIte]
-a    rw [ih v rest h.1]
-    simp only [length_append_sub, ↓reduceIte]
-b    rw [ih v rest h.1]
-    simp only [length_append_sub, ↓reduceIte]
-l    rw [ih v rest h.1]
-    simp only [length_append_sub, ↓reduceIte]
-e    rw [ih v rest h.1]
-    simp only [length_append_sub, ↓reduceIte]
-S    rw [ih v rest h.1]
-    simp only [length_append_sub, ↓reduceIte]
-t    rw [ih v rest h.1]
-    simp only [length_append_sub, ↓reduceIte]
-r    rw [ih v rest h.1]
-    simp only [length_append_sub, ↓reduceIte]
-i    rw [ih v rest h.1]
-    simp only [length_append_sub, ↓reduceIte]
-n    rw [ih v rest h.1]
-    simp only [length_append_sub, ↓reduceIte]
-g    rw [ih v rest h.1]
-    simp only [length_append_sub, ↓reduceIte]
-_    rw [ih v rest h.1]
-    simp only [length_append_sub, ↓reduceIte]
-e    rw [ih v rest h.1]
-    simp only [length_append_sub, ↓reduceIte]
-q    rw [ih v rest h.1]
-    simp only [length_append_sub, ↓reduceIte]
-,    rw [ih v rest h.1]
-    simp only [length_append_sub, ↓reduceIte]
-     rw [ih v rest h.1]
-    simp only [length_append_sub, ↓reduceIte]
-p    rw [ih v rest h.1]
-    simp only [length_append_sub, ↓reduceIte]
-r    rw [ih v rest h.1]
-    simp only [length_append_sub, ↓reduceIte]
-e    rw [ih v rest h.1]
-    simp only [length_append_sub, ↓reduceIte]
-p    rw [ih v rest h.1]
-    simp only [length_append_sub, ↓reduceIte]
-C    rw [ih v rest h.1]
-    simp only [length_append_sub, ↓reduceIte]
-o    rw [ih v rest h.1]
-    simp only [length_append_sub, ↓reduceIte]
-m    rw [ih v rest h.1]
-    simp only [length_append_sub, ↓reduceIte]
-p    rw [ih v rest h.1]
-    simp only [length_append_sub, ↓reduceIte]
-a    rw [ih v rest h.1]
-    simp only [length_append_sub, ↓reduceIte]
-c    rw [ih v rest h.1]
-    simp only [length_append_sub, ↓reduceIte]
-t    rw [ih v rest h.1]
-    simp only [length_append_sub, ↓reduceIte]
-S    rw [ih v rest h.1]
-    simp only [length_append_sub, ↓reduceIte]
-t    rw [ih v rest h.1]
-    simp only [length_append_sub, ↓reduceIte]
-r    rw [ih v rest h.1]
-    simp only [length_append_sub, ↓reduceIte]
-i    rw [ih v rest h.1]
-    simp only [length_append_sub, ↓reduceIte]
-n    rw [ih v rest h.1]
-    simp only [length_append_sub, ↓reduceIte]
-g    rw [ih v rest h.1]
-    simp only [length_append_sub, ↓reduceIte]
-_    rw [ih v rest h.1]
-    simp only [length_append_sub, ↓reduceIte]
-e    rw [ih v rest h.1]
-    simp only [length_append_sub, ↓reduceIte]
-q    rw [ih v rest h.1]
-    simp only [length_append_sub, ↓reduceIte]
-,    rw [ih v rest h.1]
-    simp only [length_append_sub, ↓reduceIte]
-
-    rw [ih v rest h.1]
-    simp only [length_append_sub, ↓reduceIte]
-     rw [ih v rest h.1]
-    simp only [length_append_sub, ↓reduceIte]
-     rw [ih v rest h.1]
-    simp only [length_append_sub, ↓reduceIte]
-     rw [ih v rest h.1]
-    simp only [length_append_sub, ↓reduceIte]
-     rw [ih v rest h.1]
-    simp only [length_append_sub, ↓reduceIte]
-     rw [ih v rest h.1]
-    simp only [length_append_sub, ↓reduceIte]
-     rw [ih v rest h.1]
-    simp only [length_append_sub, ↓reduceIte]
-p    rw [ih v rest h.1]
-    simp only [length_append_sub, ↓reduceIte]
-r    rw [ih v rest h.1]
-    simp only [length_append_sub, ↓reduceIte]
-e    rw [ih v rest h.1]
-    simp only [length_append_sub, ↓reduceIte]
-p    rw [ih v rest h.1]
-    simp only [length_append_sub, ↓reduceIte]
-N    rw [ih v rest h.1]
-    simp only [length_append_sub, ↓reduceIte]
-u    rw [ih v rest h.1]
-    simp only [length_append_sub, ↓reduceIte]
-l    rw [ih v rest h.1]
-    simp only [length_append_sub, ↓reduceIte]
-l    rw [ih v rest h.1]
-    simp only [length_append_sub, ↓reduceIte]
-a    rw [ih v rest h.1]
-    simp only [length_append_sub, ↓reduceIte]
-b    rw [ih v rest h.1]
-    simp only [length_append_sub, ↓reduceIte]
-l    rw [ih v rest h.1]
-    simp only [length_append_sub, ↓reduceIte]
-e    rw [ih v rest h.1]
-    simp only [length_append_sub, ↓reduceIte]
-C    rw [ih v rest h.1]
-    simp only [length_append_sub, ↓reduceIte]
-o    rw [ih v rest h.1]
-    simp only [length_append_sub, ↓reduceIte]
-m    rw [ih v rest h.1]
-    simp only [length_append_sub, ↓reduceIte]
-p    rw [ih v rest h.1]
-    simp only [length_append_sub, ↓reduceIte]
-a    rw [ih v rest h.1]
-    simp only [length_append_sub, ↓reduceIte]
-c    rw [ih v rest h.1]
-    simp only [length_append_sub, ↓reduceIte]
-t    rw [ih v rest h.1]
-    simp only [length_append_sub, ↓reduceIte]
-S    rw [ih v rest h.1]
-    simp only [length_append_sub, ↓reduceIte]
-t    rw [ih v rest h.1]
-    simp only [length_append_sub, ↓reduceIte]
-r    rw [ih v rest h.1]
-    simp only [length_append_sub, ↓reduceIte]
-i    rw [ih v rest h.1]
-    simp only [length_append_sub, ↓reduceIte]
-n    rw [ih v rest h.1]
-    simp only [length_append_sub, ↓reduceIte]
-g    rw [ih v rest h.1]
-    simp only [length_append_sub, ↓reduceIte]
-_    rw [ih v rest h.1]
-    simp only [length_append_sub, ↓reduceIte]
-e    rw [ih v rest h.1]
-    simp only [length_append_sub, ↓reduceIte]
-q    rw [ih v rest h.1]
-    simp only [length_append_sub, ↓reduceIte]
-,    rw [ih v rest h.1]
-    simp only [length_append_sub, ↓reduceIte]
-     rw [ih v rest h.1]
-    simp only [length_append_sub, ↓reduceIte]
-p    rw [ih v rest h.1]
-    simp only [length_append_sub, ↓reduceIte]
-r    rw [ih v rest h.1]
-    simp only [length_append_sub, ↓reduceIte]
-e    rw [ih v rest h.1]
-    simp only [length_append_sub, ↓reduceIte]
-p    rw [ih v rest h.1]
-    simp only [length_append_sub, ↓reduceIte]
-I    rw [ih v rest h.1]
-    simp only [length_append_sub, ↓reduceIte]
-n    rw [ih v rest h.1]
-    simp only [length_append_sub, ↓reduceIte]
-t    rw [ih v rest h.1]
-    simp only [length_append_sub, ↓reduceIte]
-A    rw [ih v rest h.1]
-    simp only [length_append_sub, ↓reduceIte]
-r    rw [ih v rest h.1]
-    simp only [length_append_sub, ↓reduceIte]
-r    rw [ih v rest h.1]
-    simp only [length_append_sub, ↓reduceIte]
-a    rw [ih v rest h.1]
-    simp only [length_append_sub, ↓reduceIte]
-y    rw [ih v rest h.1]
-    simp only [length_append_sub, ↓reduceIte]
-_    rw [ih v rest h.1]
-    simp only [length_append_sub, ↓reduceIte]
-e    rw [ih v rest h.1]
-    simp only [length_append_sub, ↓reduceIte]
-q    rw [ih v rest h.1]
-    simp only [length_append_sub, ↓reduceIte]
-,    rw [ih v rest h.1]
-    simp only [length_append_sub, ↓reduceIte]
-     rw [ih v rest h.1]
-    simp only [length_append_sub, ↓reduceIte]
-p    rw [ih v rest h.1]
-    simp only [length_append_sub, ↓reduceIte]
-r    rw [ih v rest h.1]
-    simp only [length_append_sub, ↓reduceIte]
-e    rw [ih v rest h.1]
-    simp only [length_append_sub, ↓reduceIte]
-p    rw [ih v rest h.1]
-    simp only [length_append_sub, ↓reduceIte]
-C    rw [ih v rest h.1]
-    simp only [length_append_sub, ↓reduceIte]
-o    rw [ih v rest h.1]
-    simp only [length_append_sub, ↓reduceIte]
-m    rw [ih v rest h.1]
-    simp only [length_append_sub, ↓reduceIte]
-p    rw [ih v rest h.1]
-    simp only [length_append_sub, ↓reduceIte]
-a    rw [ih v rest h.1]
-    simp only [length_append_sub, ↓reduceIte]
-c    rw [ih v rest h.1]
-    simp only [length_append_sub, ↓reduceIte]
-t    rw [ih v rest h.1]
-    simp only [length_append_sub, ↓reduceIte]
-I    rw [ih v rest h.1]
-    simp only [length_append_sub, ↓reduceIte]
-n    rw [ih v rest h.1]
-    simp only [length_append_sub, ↓reduceIte]
-t    rw [ih v rest h.1]
-    simp only [length_append_sub, ↓reduceIte]
-3    rw [ih v rest h.1]
-    simp only [length_append_sub, ↓reduceIte]
-2    rw [ih v rest h.1]
-    simp only [length_append_sub, ↓reduceIte]
-A    rw [ih v rest h.1]
-    simp only [length_append_sub, ↓reduceIte]
-r    rw [ih v rest h.1]
-    simp only [length_append_sub, ↓reduceIte]
-r    rw [ih v rest h.1]
-    simp only [length_append_sub, ↓reduceIte]
-a    rw [ih v rest h.1]
-    simp only [length_append_sub, ↓reduceIte]
-y    rw [ih v rest h.1]
-    simp only [length_append_sub, ↓reduceIte]
-_    rw [ih v rest h.1]
-    simp only [length_append_sub, ↓reduceIte]
-e    rw [ih v rest h.1]
-    simp only [length_append_sub, ↓reduceIte]
-q    rw [ih v rest h.1]
-    simp only [length_append_sub, ↓reduceIte]
-,    rw [ih v rest h.1]
-    simp only [length_append_sub, ↓reduceIte]
-     rw [ih v rest h.1]
-    simp only [length_append_sub, ↓reduceIte]
-p    rw [ih v rest h.1]
-    simp only [length_append_sub, ↓reduceIte]
-r    rw [ih v rest h.1]
-    simp only [length_append_sub, ↓reduceIte]
-e    rw [ih v rest h.1]
-    simp only [length_append_sub, ↓reduceIte]
-p    rw [ih v rest h.1]
-    simp only [length_append_sub, ↓reduceIte]
-N    rw [ih v rest h.1]
-    simp only [length_append_sub, ↓reduceIte]
-u    rw [ih v rest h.1]
-    simp only [length_append_sub, ↓reduceIte]
-l    rw [ih v rest h.1]
-    simp only [length_append_sub, ↓reduceIte]
-l    rw [ih v rest h.1]
-    simp only [length_append_sub, ↓reduceIte]
-a    rw [ih v rest h.1]
-    simp only [length_append_sub, ↓reduceIte]
-b    rw [ih v rest h.1]
-    simp only [length_append_sub, ↓reduceIte]
-l    rw [ih v rest h.1]
-    simp only [length_append_sub, ↓reduceIte]
-e    rw [ih v rest h.1]
-    simp only [length_append_sub, ↓reduceIte]
-C    rw [ih v rest h.1]
-    simp only [length_append_sub, ↓reduceIte]
-o    rw [ih v rest h.1]
-    simp only [length_append_sub, ↓reduceIte]
-m    rw [ih v rest h.1]
-    simp only [length_append_sub, ↓reduceIte]
-p    rw [ih v rest h.1]
-    simp only [length_append_sub, ↓reduceIte]
-a    rw [ih v rest h.1]
-    simp only [length_append_sub, ↓reduceIte]
-c    rw [ih v rest h.1]
-    simp only [length_append_sub, ↓reduceIte]
-t    rw [ih v rest h.1]
-    simp only [length_append_sub, ↓reduceIte]
-I    rw [ih v rest h.1]
-    simp only [length_append_sub, ↓reduceIte]
-n    rw [ih v rest h.1]
-    simp only [length_append_sub, ↓reduceIte]
-t    rw [ih v rest h.1]
-    simp only [length_append_sub, ↓reduceIte]
-3    rw [ih v rest h.1]
-    simp only [length_append_sub, ↓reduceIte]
-2    rw [ih v rest h.1]
-    simp only [length_append_sub, ↓reduceIte]
-A    rw [ih v rest h.1]
-    simp only [length_append_sub, ↓reduceIte]
-r    rw [ih v rest h.1]
-    simp only [length_append_sub, ↓reduceIte]
-r    rw [ih v rest h.1]
-    simp only [length_append_sub, ↓reduceIte]
-a    rw [ih v rest h.1]
-    simp only [length_append_sub, ↓reduceIte]
-y    rw [ih v rest h.1]
-    simp only [length_append_sub, ↓reduceIte]
-_    rw [ih v rest h.1]
-    simp only [length_append_sub, ↓reduceIte]
-e    rw [ih v rest h.1]
-    simp only [length_append_sub, ↓reduceIte]
-q    rw [ih v rest h.1]
-    simp only [length_append_sub, ↓reduceIte]
-,    rw [ih v rest h.1]
-    simp only [length_append_sub, ↓reduceIte]
-
-    rw [ih v rest h.1]
-    simp only [length_append_sub, ↓reduceIte]
-     rw [ih v rest h.1]
-    simp only [length_append_sub, ↓reduceIte]
-     rw [ih v rest h.1]
-    simp only [length_append_sub, ↓reduceIte]
-     rw [ih v rest h.1]
-    simp only [length_append_sub, ↓reduceIte]
-     rw [ih v rest h.1]
-    simp only [length_append_sub, ↓reduceIte]
-     rw [ih v rest h.1]
-    simp only [length_append_sub, ↓reduceIte]
-     rw [ih v rest h.1]
-    simp only [length_append_sub, ↓reduceIte]
-p    rw [ih v rest h.1]
-    simp only [length_append_sub, ↓reduceIte]
-r    rw [ih v rest h.1]
-    simp only [length_append_sub, ↓reduceIte]
-e    rw [ih v rest h.1]
-    simp only [length_append_sub, ↓reduceIte]
-p    rw [ih v rest h.1]
-    simp only [length_append_sub, ↓reduceIte]
-S    rw [ih v rest h.1]
-    simp only [length_append_sub, ↓reduceIte]
-t    rw [ih v rest h.1]
-    simp only [length_append_sub, ↓reduceIte]
-r    rw [ih v rest h.1]
-    simp only [length_append_sub, ↓reduceIte]
-i    rw [ih v rest h.1]
-    simp only [length_append_sub, ↓reduceIte]
-n    rw [ih v rest h.1]
-    simp only [length_append_sub, ↓reduceIte]
-g    rw [ih v rest h.1]
-    simp only [length_append_sub, ↓reduceIte]
-A    rw [ih v rest h.1]
-    simp only [length_append_sub, ↓reduceIte]
-r    rw [ih v rest h.1]
-    simp only [length_append_sub, ↓reduceIte]
-r    rw [ih v rest h.1]
-    simp only [length_append_sub, ↓reduceIte]
-a    rw [ih v rest h.1]
-    simp only [length_append_sub, ↓reduceIte]
-y    rw [ih v rest h.1]
-    simp only [length_append_sub, ↓reduceIte]
-_    rw [ih v rest h.1]
-    simp only [length_append_sub, ↓reduceIte]
-e    rw [ih v rest h.1]
-    simp only [length_append_sub, ↓reduceIte]
-q    rw [ih v rest h.1]
-    simp only [length_append_sub, ↓reduceIte]
-,    rw [ih v rest h.1]
-    simp only [length_append_sub, ↓reduceIte]
-     rw [ih v rest h.1]
-    simp only [length_append_sub, ↓reduceIte]
-L    rw [ih v rest h.1]
-    simp only [length_append_sub, ↓reduceIte]
-i    rw [ih v rest h.1]
-    simp only [length_append_sub, ↓reduceIte]
-s    rw [ih v rest h.1]
-    simp only [length_append_sub, ↓reduceIte]
-t    rw [ih v rest h.1]
-    simp only [length_append_sub, ↓reduceIte]
-.    rw [ih v rest h.1]
-    simp only [length_append_sub, ↓reduceIte]
-l    rw [ih v rest h.1]
-    simp only [length_append_sub, ↓reduceIte]
-e    rw [ih v rest h.1]
-    simp only [length_append_sub, ↓reduceIte]
-n    rw [ih v rest h.1]
-    simp only [length_append_sub, ↓reduceIte]
-g    rw [ih v rest h.1]
-    simp only [length_append_sub, ↓reduceIte]
-t    rw [ih v rest h.1]
-    simp only [length_append_sub, ↓reduceIte]
-h    rw [ih v rest h.1]
-    simp only [length_append_sub, ↓reduceIte]
-_    rw [ih v rest h.1]
-    simp only [length_append_sub, ↓reduceIte]
-n    rw [ih v rest h.1]
-    simp only [length_append_sub, ↓reduceIte]
-i    rw [ih v rest h.1]
-    simp only [length_append_sub, ↓reduceIte]
-l    rw [ih v rest h.1]
-    simp only [length_append_sub, ↓reduceIte]
-,    rw [ih v rest h.1]
-    simp only [length_append_sub, ↓reduceIte]
-     rw [ih v rest h.1]
-    simp only [length_append_sub, ↓reduceIte]
-p    rw [ih v rest h.1]
-    simp only [length_append_sub, ↓reduceIte]
-u    rw [ih v rest h.1]
-    simp only [length_append_sub, ↓reduceIte]
-t    rw [ih v rest h.1]
-    simp only [length_append_sub, ↓reduceIte]
-B    rw [ih v rest h.1]
-    simp only [length_append_sub, ↓reduceIte]
-o    rw [ih v rest h.1]
-    simp only [length_append_sub, ↓reduceIte]
-o    rw [ih v rest h.1]
-    simp only [length_append_sub, ↓reduceIte]
-l    rw [ih v rest h.1]
-    simp only [length_append_sub, ↓reduceIte]
-,    rw [ih v rest h.1]
-    simp only [length_append_sub, ↓reduceIte]
-     rw [ih v rest h.1]
-    simp only [length_append_sub, ↓reduceIte]
-p    rw [ih v rest h.1]
-    simp only [length_append_sub, ↓reduceIte]
-u    rw [ih v rest h.1]
-    simp only [length_append_sub, ↓reduceIte]
-t    rw [ih v rest h.1]
-    simp only [length_append_sub, ↓reduceIte]
-E    rw [ih v rest h.1]
-    simp only [length_append_sub, ↓reduceIte]
-m    rw [ih v rest h.1]
-    simp only [length_append_sub, ↓reduceIte]
-p    rw [ih v rest h.1]
-    simp only [length_append_sub, ↓reduceIte]
-t    rw [ih v rest h.1]
-    simp only [length_append_sub, ↓reduceIte]
-y    rw [ih v rest h.1]
-    simp only [length_append_sub, ↓reduceIte]
-T    rw [ih v rest h.1]
-    simp only [length_append_sub, ↓reduceIte]
-a    rw [ih v rest h.1]
-    simp only [length_append_sub, ↓reduceIte]
-g    rw [ih v rest h.1]
-    simp only [length_append_sub, ↓reduceIte]
-g    rw [ih v rest h.1]
-    simp only [length_append_sub, ↓reduceIte]
-e    rw [ih v rest h.1]
-    simp only [length_append_sub, ↓reduceIte]
-d    rw [ih v rest h.1]
-    simp only [length_append_sub, ↓reduceIte]
-]    rw [ih v rest h.1]
-    simp only [length_append_sub, ↓reduceIte]
-
-    rw [ih v rest h.1]
-    simp only [length_append_sub, ↓reduceIte]
-
-    rw [ih v rest h.1]
-    simp only [length_append_sub, ↓reduceIte]
-/    rw [ih v rest h.1]
-    simp only [length_append_sub, ↓reduceIte]
--    rw [ih v rest h.1]
-    simp only [length_append_sub, ↓reduceIte]
--    rw [ih v rest h.1]
-    simp only [length_append_sub, ↓reduceIte]
-     rw [ih v rest h.1]
-    simp only [length_append_sub, ↓reduceIte]
-e    rw [ih v rest h.1]
-    simp only [length_append_sub, ↓reduceIte]
-v    rw [ih v rest h.1]
-    simp only [length_append_sub, ↓reduceIte]
-e    rw [ih v rest h.1]
-    simp only [length_append_sub, ↓reduceIte]
-r    rw [ih v rest h.1]
-    simp only [length_append_sub, ↓reduceIte]
-y    rw [ih v rest h.1]
-    simp only [length_append_sub, ↓reduceIte]
-     rw [ih v rest h.1]
-    simp only [length_append_sub, ↓reduceIte]
-g    rw [ih v rest h.1]
-    simp only [length_append_sub, ↓reduceIte]
-e    rw [ih v rest h.1]
-    simp only [length_append_sub, ↓reduceIte]
-t    rw [ih v rest h.1]
-    simp only [length_append_sub, ↓reduceIte]
-t    rw [ih v rest h.1]
-    simp only [length_append_sub, ↓reduceIte]
-e    rw [ih v rest h.1]
-    simp only [length_append_sub, ↓reduceIte]
-r    rw [ih v rest h.1]
-    simp only [length_append_sub, ↓reduceIte]
-     rw [ih v rest h.1]
-    simp only [length_append_sub, ↓reduceIte]
-i    rw [ih v rest h.1]
-    simp only [length_append_sub, ↓reduceIte]
-n    rw [ih v rest h.1]
-    simp only [length_append_sub, ↓reduceIte]
-v    rw [ih v rest h.1]
-    simp only [length_append_sub, ↓reduceIte]
-e    rw [ih v rest h.1]
-    simp only [length_append_sub, ↓reduceIte]
-r    rw [ih v rest h.1]
-    simp only [length_append_sub, ↓reduceIte]
-t    rw [ih v rest h.1]
-    simp only [length_append_sub, ↓reduceIte]
-s    rw [ih v rest h.1]
-    simp only [length_append_sub, ↓reduceIte]
-     rw [ih v rest h.1]
-    simp only [length_append_sub, ↓reduceIte]
-i    rw [ih v rest h.1]
-    simp only [length_append_sub, ↓reduceIte]
-t    rw [ih v rest h.1]
-    simp only [length_append_sub, ↓reduceIte]
-s    rw [ih v rest h.1]
-    simp only [length_append_sub, ↓reduceIte]
-     rw [ih v rest h.1]
-    simp only [length_append_sub, ↓reduceIte]
-p    rw [ih v rest h.1]
-    simp only [length_append_sub, ↓reduceIte]
-u    rw [ih v rest h.1]
-    simp only [length_append_sub, ↓reduceIte]
-t    rw [ih v rest h.1]
-    simp only [length_append_sub, ↓reduceIte]
-t    rw [ih v rest h.1]
-    simp only [length_append_sub, ↓reduceIte]
-e    rw [ih v rest h.1]
-    simp only [length_append_sub, ↓reduceIte]
-r    rw [ih v rest h.1]
-    simp only [length_append_sub, ↓reduceIte]
-     rw [ih v rest h.1]
-    simp only [length_append_sub, ↓reduceIte]
--    rw [ih v rest h.1]
-    simp only [length_append_sub, ↓reduceIte]
-/    rw [ih v rest h.1]
-    simp only [length_append_sub, ↓reduceIte]
-
-    rw [ih v rest h.1]
-    simp only [length_append_sub, ↓reduceIte]
-t    rw [ih v rest h.1]
-    simp only [length_append_sub, ↓reduceIte]
-h    rw [ih v rest h.1]
-    simp only [length_append_sub, ↓reduceIte]
-e    rw [ih v rest h.1]
-    simp only [length_append_sub, ↓reduceIte]
-o    rw [ih v rest h.1]
-    simp only [length_append_sub, ↓reduceIte]
-r    rw [ih v rest h.1]
-    simp only [length_append_sub, ↓reduceIte]
-e    rw [ih v rest h.1]
-    simp only [length_append_sub, ↓reduceIte]
-m    rw [ih v rest h.1]
-    simp only [length_append_sub, ↓reduceIte]
-     rw [ih v rest h.1]
-    simp only [length_append_sub, ↓reduceIte]
-d    rw [ih v rest h.1]
-    simp only [length_append_sub, ↓reduceIte]
-e    rw [ih v rest h.1]
-    simp only [length_append_sub, ↓reduceIte]
-c    rw [ih v rest h.1]
-    simp only [length_append_sub, ↓reduceIte]
-P    rw [ih v rest h.1]
-    simp only [length_append_sub, ↓reduceIte]
-_    rw [ih v rest h.1]
-    simp only [length_append_sub, ↓reduceIte]
-e    rw [ih v rest h.1]
-    simp only [length_append_sub, ↓reduceIte]
-n    rw [ih v rest h.1]
-    simp only [length_append_sub, ↓reduceIte]
-c    rw [ih v rest h.1]
-    simp only [length_append_sub, ↓reduceIte]
-P    rw [ih v rest h.1]
-    simp only [length_append_sub, ↓reduceIte]
-     rw [ih v rest h.1]
-    simp only [length_append_sub, ↓reduceIte]
-(    rw [ih v rest h.1]
-    simp only [length_append_sub, ↓reduceIte]
-p    rw [ih v rest h.1]
-    simp only [length_append_sub, ↓reduceIte]
-     rw [ih v rest h.1]
-    simp only [length_append_sub, ↓reduceIte]
-:    rw [ih v rest h.1]
-    simp only [length_append_sub, ↓reduceIte]
-     rw [ih v rest h.1]
-    simp only [length_append_sub, ↓reduceIte]
-P    rw [ih v rest h.1]
-    simp only [length_append_sub, ↓reduceIte]
-r    rw [ih v rest h.1]
-    simp only [length_append_sub, ↓reduceIte]
-i    rw [ih v rest h.1]
-    simp only [length_append_sub, ↓reduceIte]
-m    rw [ih v rest h.1]
-    simp only [length_append_sub, ↓reduceIte]
-)    rw [ih v rest h.1]
-    simp only [length_append_sub, ↓reduceIte]
-     rw [ih v rest h.1]
-    simp only [length_append_sub, ↓reduceIte]
-(    rw [ih v rest h.1]
-    simp only [length_append_sub, ↓reduceIte]
-v    rw [ih v rest h.1]
-    simp only [length_append_sub, ↓reduceIte]
-     rw [ih v rest h.1]
-    simp only [length_append_sub, ↓reduceIte]
-:    rw [ih v rest h.1]
-    simp only [length_append_sub, ↓reduceIte]
-     rw [ih v rest h.1]
-    simp only [length_append_sub, ↓reduceIte]
-V    rw [ih v rest h.1]
-    simp only [length_append_sub, ↓reduceIte]
-a    rw [ih v rest h.1]
-    simp only [length_append_sub, ↓reduceIte]
-l    rw [ih v rest h.1]
-    simp only [length_append_sub, ↓reduceIte]
-)    rw [ih v rest h.1]
-    simp only [length_append_sub, ↓reduceIte]
-     rw [ih v rest h.1]
-    simp only [length_append_sub, ↓reduceIte]
-(    rw [ih v rest h.1]
-    simp only [length_append_sub, ↓reduceIte]
-r    rw [ih v rest h.1]
-    simp only [length_append_sub, ↓reduceIte]
-e    rw [ih v rest h.1]
-    simp only [length_append_sub, ↓reduceIte]
-s    rw [ih v rest h.1]
-    simp only [length_append_sub, ↓reduceIte]
-t    rw [ih v rest h.1]
-    simp only [length_append_sub, ↓reduceIte]
-     rw [ih v rest h.1]
-    simp only [length_append_sub, ↓reduceIte]
-:    rw [ih v rest h.1]
-    simp only [length_append_sub, ↓reduceIte]
-     rw [ih v rest h.1]
-    simp only [length_append_sub, ↓reduceIte]
-B    rw [ih v rest h.1]
-    simp only [length_append_sub, ↓reduceIte]
-y    rw [ih v rest h.1]
-    simp only [length_append_sub, ↓reduceIte]
-t    rw [ih v rest h.1]
-    simp only [length_append_sub, ↓reduceIte]
-e    rw [ih v rest h.1]
-    simp only [length_append_sub, ↓reduceIte]
-s    rw [ih v rest h.1]
-    simp only [length_append_sub, ↓reduceIte]
-)    rw [ih v rest h.1]
-    simp only [length_append_sub, ↓reduceIte]
-     rw [ih v rest h.1]
-    simp only [length_append_sub, ↓reduceIte]
-(    rw [ih v rest h.1]
-    simp only [length_append_sub, ↓reduceIte]
-h    rw [ih v rest h.1]
-    simp only [length_append_sub, ↓reduceIte]
-     rw [ih v rest h.1]
-    simp only [length_append_sub, ↓reduceIte]
-:    rw [ih v rest h.1]
-    simp only [length_append_sub, ↓reduceIte]
-     rw [ih v rest h.1]
-    simp only [length_append_sub, ↓reduceIte]
-w    rw [ih v rest h.1]
-    simp only [length_append_sub, ↓reduceIte]
-t    rw [ih v rest h.1]
-    simp only [length_append_sub, ↓reduceIte]
-P    rw [ih v rest h.1]
-    simp only [length_append_sub, ↓reduceIte]
-     rw [ih v rest h.1]
-    simp only [length_append_sub, ↓reduceIte]
-p    rw [ih v rest h.1]
-    simp only [length_append_sub, ↓reduceIte]
-     rw [ih v rest h.1]
-    simp only [length_append_sub, ↓reduceIte]
-v    rw [ih v rest h.1]
-    simp only [length_append_sub, ↓reduceIte]
-     rw [ih v rest h.1]
-    simp only [length_append_sub, ↓reduceIte]
-=    rw [ih v rest h.1]
-    simp only [length_append_sub, ↓reduceIte]
-     rw [ih v rest h.1]
-    simp only [length_append_sub, ↓reduceIte]
-t    rw [ih v rest h.1]
-    simp only [length_append_sub, ↓reduceIte]
-r    rw [ih v rest h.1]
-    simp only [length_append_sub, ↓reduceIte]
-u    rw [ih v rest h.1]
-    simp only [length_append_sub, ↓reduceIte]
-e    rw [ih v rest h.1]
-    simp only [length_append_sub, ↓reduceIte]
-)    rw [ih v rest h.1]
-    simp only [length_append_sub, ↓reduceIte]
-     rw [ih v rest h.1]
-    simp only [length_append_sub, ↓reduceIte]
-:    rw [ih v rest h.1]
-    simp only [length_append_sub, ↓reduceIte]
-
-    rw [ih v rest h.1]
-    simp only [length_append_sub, ↓reduceIte]
-     rw [ih v rest h.1]
-    simp only [length_append_sub, ↓reduceIte]
-     rw [ih v rest h.1]
-    simp only [length_append_sub, ↓reduceIte]
-     rw [ih v rest h.1]
-    simp only [length_append_sub, ↓reduceIte]
-     rw [ih v rest h.1]
-    simp only [length_append_sub, ↓reduceIte]
-d    rw [ih v rest h.1]
-    simp only [length_append_sub, ↓reduceIte]
-e    rw [ih v rest h.1]
-    simp only [length_append_sub, ↓reduceIte]
-c    rw [ih v rest h.1]
-    simp only [length_append_sub, ↓reduceIte]
-P    rw [ih v rest h.1]
-    simp only [length_append_sub, ↓reduceIte]
-     rw [ih v rest h.1]
-    simp only [length_append_sub, ↓reduceIte]
-p    rw [ih v rest h.1]
-    simp only [length_append_sub, ↓reduceIte]
-     rw [ih v rest h.1]
-    simp only [length_append_sub, ↓reduceIte]
-(    rw [ih v rest h.1]
-    simp only [length_append_sub, ↓reduceIte]
-e    rw [ih v rest h.1]
-    simp only [length_append_sub, ↓reduceIte]
-n    rw [ih v rest h.1]
-    simp only [length_append_sub, ↓reduceIte]
-c    rw [ih v rest h.1]
-    simp only [length_append_sub, ↓reduceIte]
-P    rw [ih v rest h.1]
-    simp only [length_append_sub, ↓reduceIte]
-     rw [ih v rest h.1]
-    simp only [length_append_sub, ↓reduceIte]
-p    rw [ih v rest h.1]
-    simp only [length_append_sub, ↓reduceIte]
-     rw [ih v rest h.1]
-    simp only [length_append_sub, ↓reduceIte]
-v    rw [ih v rest h.1]
-    simp only [length_append_sub, ↓reduceIte]
-     rw [ih v rest h.1]
-    simp only [length_append_sub, ↓reduceIte]
-+    rw [ih v rest h.1]
-    simp only [length_append_sub, ↓reduceIte]
-+    rw [ih v rest h.1]
-    simp only [length_append_sub, ↓reduceIte]
-     rw [ih v rest h.1]
-    simp only [length_append_sub, ↓reduceIte]
-r    rw [ih v rest h.1]
-    simp only [length_append_sub, ↓reduceIte]
-e    rw [ih v rest h.1]
-    simp only [length_append_sub, ↓reduceIte]
-s    rw [ih v rest h.1]
-    simp only [length_append_sub, ↓reduceIte]
-t    rw [ih v rest h.1]
-    simp only [length_append_sub, ↓reduceIte]
-)    rw [ih v rest h.1]
-    simp only [length_append_sub, ↓reduceIte]
-     rw [ih v rest h.1]
-    simp only [length_append_sub, ↓reduceIte]
-=    rw [ih v rest h.1]
-    simp only [length_append_sub, ↓reduceIte]
-     rw [ih v rest h.1]
-    simp only [length_append_sub, ↓reduceIte]
-s    rw [ih v rest h.1]
-    simp only [length_append_sub, ↓reduceIte]
-o    rw [ih v rest h.1]
-    simp only [length_append_sub, ↓reduceIte]
-m    rw [ih v rest h.1]
-    simp only [length_append_sub, ↓reduceIte]
-e    rw [ih v rest h.1]
-    simp only [length_append_sub, ↓reduceIte]
-     rw [ih v rest h.1]
-    simp only [length_append_sub, ↓reduceIte]
-(    rw [ih v rest h.1]
-    simp only [length_append_sub, ↓reduceIte]
-v    rw [ih v rest h.1]
-    simp only [length_append_sub, ↓reduceIte]
-,    rw [ih v rest h.1]
-    simp only [length_append_sub, ↓reduceIte]
-     rw [ih v rest h.1]
-    simp only [length_append_sub, ↓reduceIte]
-r    rw [ih v rest h.1]
-    simp only [length_append_sub, ↓reduceIte]
-e    rw [ih v rest h.1]
-    simp only [length_append_sub, ↓reduceIte]
-s    rw [ih v rest h.1]
-    simp only [length_append_sub, ↓reduceIte]
-t    rw [ih v rest h.1]
-    simp only [length_append_sub, ↓reduceIte]
-)    rw [ih v rest h.1]
-    simp only [length_append_sub, ↓reduceIte]
-     rw [ih v rest h.1]
-    simp only [length_append_sub, ↓reduceIte]
-:    rw [ih v rest h.1]
-    simp only [length_append_sub, ↓reduceIte]
-=    rw [ih v rest h.1]
-    simp only [length_append_sub, ↓reduceIte]
-     rw [ih v rest h.1]
-    simp only [length_append_sub, ↓reduceIte]
-b    rw [ih v rest h.1]
-    simp only [length_append_sub, ↓reduceIte]
-y    rw [ih v rest h.1]
-    simp only [length_append_sub, ↓reduceIte]
-
-    rw [ih v rest h.1]
-    simp only [length_append_sub, ↓reduceIte]
-     rw [ih v rest h.1]
-    simp only [length_append_sub, ↓reduceIte]
-     rw [ih v rest h.1]
-    simp only [length_append_sub, ↓reduceIte]
-c    rw [ih v rest h.1]
-    simp only [length_append_sub, ↓reduceIte]
-a    rw [ih v rest h.1]
-    simp only [length_append_sub, ↓reduceIte]
-s    rw [ih v rest h.1]
-    simp only [length_append_sub, ↓reduceIte]
-e    rw [ih v rest h.1]
-    simp only [length_append_sub, ↓reduceIte]
-s    rw [ih v rest h.1]
-    simp only [length_append_sub, ↓reduceIte]
-     rw [ih v rest h.1]
-    simp only [length_append_sub, ↓reduceIte]
-p    rw [ih v rest h.1]
-    simp only [length_append_sub, ↓reduceIte]
-     rw [ih v rest h.1]
-    simp only [length_append_sub, ↓reduceIte]
-<    rw [ih v rest h.1]
-    simp only [length_append_sub, ↓reduceIte]
-;    rw [ih v rest h.1]
-    simp only [length_append_sub, ↓reduceIte]
->    rw [ih v rest h.1]
-    simp only [length_append_sub, ↓reduceIte]
-     rw [ih v rest h.1]
-    simp only [length_append_sub, ↓reduceIte]
-c    rw [ih v rest h.1]
-    simp only [length_append_sub, ↓reduceIte]
-a    rw [ih v rest h.1]
-    simp only [length_append_sub, ↓reduceIte]
-s    rw [ih v rest h.1]
-    simp only [length_append_sub, ↓reduceIte]
-e    rw [ih v rest h.1]
-    simp only [length_append_sub, ↓reduceIte]
-s    rw [ih v rest h.1]
-    simp only [length_append_sub, ↓reduceIte]
-     rw [ih v rest h.1]
-    simp only [length_append_sub, ↓reduceIte]
-v    rw [ih v rest h.1]
-    simp only [length_append_sub, ↓reduceIte]
-     rw [ih v rest h.1]
-    simp only [length_append_sub, ↓reduceIte]
-<    rw [ih v rest h.1]
-    simp only [length_append_sub, ↓reduceIte]
-;    rw [ih v rest h.1]
-    simp only [length_append_sub, ↓reduceIte]
->    rw [ih v rest h.1]
-    simp only [length_append_sub, ↓reduceIte]
-     rw [ih v rest h.1]
-    simp only [length_append_sub, ↓reduceIte]
-s    rw [ih v rest h.1]
-    simp only [length_append_sub, ↓reduceIte]
-i    rw [ih v rest h.1]
-    simp only [length_append_sub, ↓reduceIte]
-m    rw [ih v rest h.1]
-    simp only [length_append_sub, ↓reduceIte]
-p    rw [ih v rest h.1]
-    simp only [length_append_sub, ↓reduceIte]
-     rw [ih v rest h.1]
-    simp only [length_append_sub, ↓reduceIte]
-o    rw [ih v rest h.1]
-    simp only [length_append_sub, ↓reduceIte]
-n    rw [ih v rest h.1]
-    simp only [length_append_sub, ↓reduceIte]
-l    rw [ih v rest h.1]
-    simp only [length_append_sub, ↓reduceIte]
-y    rw [ih v rest h.1]
-    simp only [length_append_sub, ↓reduceIte]
-     rw [ih v rest h.1]
-    simp only [length_append_sub, ↓reduceIte]
-[    rw [ih v rest h.1]
-    simp only [length_append_sub, ↓reduceIte]
-w    rw [ih v rest h.1]
-    simp only [length_append_sub, ↓reduceIte]
-t    rw [ih v rest h.1]
-    simp only [length_append_sub, ↓reduceIte]
-P    rw [ih v rest h.1]
-    simp only [length_append_sub, ↓reduceIte]
-,    rw [ih v rest h.1]
-    simp only [length_append_sub, ↓reduceIte]
-     rw [ih v rest h.1]
-    simp only [length_append_sub, ↓reduceIte]
-B    rw [ih v rest h.1]
-    simp only [length_append_sub, ↓reduceIte]
-o    rw [ih v rest h.1]
-    simp only [length_append_sub, ↓reduceIte]
-o    rw [ih v rest h.1]
-    simp only [length_append_sub, ↓reduceIte]
-l    rw [ih v rest h.1]
-    simp only [length_append_sub, ↓reduceIte]
-.    rw [ih v rest h.1]
-    simp only [length_append_sub, ↓reduceIte]
-f    rw [ih v rest h.1]
-    simp only [length_append_sub, ↓reduceIte]
-a    rw [ih v rest h.1]
-    simp only [length_append_sub, ↓reduceIte]
-l    rw [ih v rest h.1]
-    simp only [length_append_sub, ↓reduceIte]
-s    rw [ih v rest h.1]
-    simp only [length_append_sub, ↓reduceIte]
-e    rw [ih v rest h.1]
-    simp only [length_append_sub, ↓reduceIte]
-_    rw [ih v rest h.1]
-    simp only [length_append_sub, ↓reduceIte]
-e    rw [ih v rest h.1]
-    simp only [length_append_sub, ↓reduceIte]
-q    rw [ih v rest h.1]
-    simp only [length_append_sub, ↓reduceIte]
-_    rw [ih v rest h.1]
-    simp only [length_append_sub, ↓reduceIte]
-t    rw [ih v rest h.1]
-    simp only [length_append_sub, ↓reduceIte]
-r    rw [ih v rest h.1]
-    simp only [length_append_sub, ↓reduceIte]
-u    rw [ih v rest h.1]
-    simp only [length_append_sub, ↓reduceIte]
-e    rw [ih v rest h.1]
-    simp only [length_append_sub, ↓reduceIte]
-,    rw [ih v rest h.1]
-    simp only [length_append_sub, ↓reduceIte]
-     rw [ih v rest h.1]
-    simp only [length_append_sub, ↓reduceIte]
-B    rw [ih v rest h.1]
-    simp only [length_append_sub, ↓reduceIte]
-o    rw [ih v rest h.1]
-    simp only [length_append_sub, ↓reduceIte]
-o    rw [ih v rest h.1]
-    simp only [length_append_sub, ↓reduceIte]
-l    rw [ih v rest h.1]
-    simp only [length_append_sub, ↓reduceIte]
-.    rw [ih v rest h.1]
-    simp only [length_append_sub, ↓reduceIte]
-a    rw [ih v rest h.1]
-    simp only [length_append_sub, ↓reduceIte]
-n    rw [ih v rest h.1]
-    simp only [length_append_sub, ↓reduceIte]
-d    rw [ih v rest h.1]
-    simp only [length_append_sub, ↓reduceIte]
-_    rw [ih v rest h.1]
-    simp only [length_append_sub, ↓reduceIte]
-e    rw [ih v rest h.1]
-    simp only [length_append_sub, ↓reduceIte]
-q    rw [ih v rest h.1]
-    simp only [length_append_sub, ↓reduceIte]
-_    rw [ih v rest h.1]
-    simp only [length_append_sub, ↓reduceIte]
-t    rw [ih v rest h.1]
-    simp only [length_append_sub, ↓reduceIte]
-r    rw [ih v rest h.1]
-    simp only [length_append_sub, ↓reduceIte]
-u    rw [ih v rest h.1]
-    simp only [length_append_sub, ↓reduceIte]
-e    rw [ih v rest h.1]
-    simp only [length_append_sub, ↓reduceIte]
-,    rw [ih v rest h.1]
-    simp only [length_append_sub, ↓reduceIte]
-     rw [ih v rest h.1]
-    simp only [length_append_sub, ↓reduceIte]
-d    rw [ih v rest h.1]
-    simp only [length_append_sub, ↓reduceIte]
-e    rw [ih v rest h.1]
-    simp only [length_append_sub, ↓reduceIte]
-c    rw [ih v rest h.1]
-    simp only [length_append_sub, ↓reduceIte]
-i    rw [ih v rest h.1]
-    simp only [length_append_sub, ↓reduceIte]
-d    rw [ih v rest h.1]
-    simp only [length_append_sub, ↓reduceIte]
-e    rw [ih v rest h.1]
-    simp only [length_append_sub, ↓reduceIte]
-_    rw [ih v rest h.1]
-    simp only [length_append_sub, ↓reduceIte]
-e    rw [ih v rest h.1]
-    simp only [length_append_sub, ↓reduceIte]
-q    rw [ih v rest h.1]
-    simp only [length_append_sub, ↓reduceIte]
-_    rw [ih v rest h.1]
-    simp only [length_append_sub, ↓reduceIte]
-t    rw [ih v rest h.1]
-    simp only [length_append_sub, ↓reduceIte]
-r    rw [ih v rest h.1]
-    simp only [length_append_sub, ↓reduceIte]
-u    rw [ih v rest h.1]
-    simp only [length_append_sub, ↓reduceIte]
-e    rw [ih v rest h.1]
-    simp only [length_append_sub, ↓reduceIte]
-_    rw [ih v rest h.1]
-    simp only [length_append_sub, ↓reduceIte]
-e    rw [ih v rest h.1]
-    simp only [length_append_sub, ↓reduceIte]
-q    rw [ih v rest h.1]
-    simp only [length_append_sub, ↓reduceIte]
-]    rw [ih v rest h.1]
-    simp only [length_append_sub, ↓reduceIte]
-     rw [ih v rest h.1]
-    simp only [length_append_sub, ↓reduceIte]
-a    rw [ih v rest h.1]
-    simp only [length_append_sub, ↓reduceIte]
-t    rw [ih v rest h.1]
-    simp only [length_append_sub, ↓reduceIte]
-     rw [ih v rest h.1]
-    simp only [length_append_sub, ↓reduceIte]
-h    rw [ih v rest h.1]
-    simp only [length_append_sub, ↓reduceIte]
-     rw [ih v rest h.1]
-    simp only [length_append_sub, ↓reduceIte]
-<    rw [ih v rest h.1]
-    simp only [length_append_sub, ↓reduceIte]
-;    rw [ih v rest h.1]
-    simp only [length_append_sub, ↓reduceIte]
->    rw [ih v rest h.1]
-    simp only [length_append_sub, ↓reduceIte]
-
-    rw [ih v rest h.1]
-    simp only [length_append_sub, ↓reduceIte]
-     rw [ih v rest h.1]
-    simp only [length_append_sub, ↓reduceIte]
-     rw [ih v rest h.1]
-    simp only [length_append_sub, ↓reduceIte]
-     rw [ih v rest h.1]
-    simp only [length_append_sub, ↓reduceIte]
-     rw [ih v rest h.1]
-    simp only [length_append_sub, ↓reduceIte]
-s    rw [ih v rest h.1]
-    simp only [length_append_sub, ↓reduceIte]
-i    rw [ih v rest h.1]
-    simp only [length_append_sub, ↓reduceIte]
-m    rw [ih v rest h.1]
-    simp only [length_append_sub, ↓reduceIte]
-p    rw [ih v rest h.1]
-    simp only [length_append_sub, ↓reduceIte]
-     rw [ih v rest h.1]
-    simp only [length_append_sub, ↓reduceIte]
-o    rw [ih v rest h.1]
-    simp only [length_append_sub, ↓reduceIte]
-n    rw [ih v rest h.1]
-    simp only [length_append_sub, ↓reduceIte]
-l    rw [ih v rest h.1]
-    simp only [length_append_sub, ↓reduceIte]
-y    rw [ih v rest h.1]
-    simp only [length_append_sub, ↓reduceIte]
-     rw [ih v rest h.1]
-    simp only [length_append_sub, ↓reduceIte]
-[    rw [ih v rest h.1]
-    simp only [length_append_sub, ↓reduceIte]
-d    rw [ih v rest h.1]
-    simp only [length_append_sub, ↓reduceIte]
-e    rw [ih v rest h.1]
-    simp only [length_append_sub, ↓reduceIte]
-c    rw [ih v rest h.1]
-    simp only [length_append_sub, ↓reduceIte]
-P    rw [ih v rest h.1]
-    simp only [length_append_sub, ↓reduceIte]
-,    rw [ih v rest h.1]
-    simp only [length_append_sub, ↓reduceIte]
-     rw [ih v rest h.1]
-    simp only [length_append_sub, ↓reduceIte]
-e    rw [ih v rest h.1]
-    simp only [length_append_sub, ↓reduceIte]
-n    rw [ih v rest h.1]
-    simp only [length_append_sub, ↓reduceIte]
-c    rw [ih v rest h.1]
-    simp only [length_append_sub, ↓reduceIte]
-P    rw [ih v rest h.1]
-    simp only [length_append_sub, ↓reduceIte]
-]    rw [ih v rest h.1]
-    simp only [length_append_sub, ↓reduceIte]
-
-    rw [ih v rest h.1]
-    simp only [length_append_sub, ↓reduceIte]
-     rw [ih v rest h.1]
-    simp only [length_append_sub, ↓reduceIte]
-     rw [ih v rest h.1]
-    simp only [length_append_sub, ↓reduceIte]
-c    rw [ih v rest h.1]
-    simp only [length_append_sub, ↓reduceIte]
-a    rw [ih v rest h.1]
-    simp only [length_append_sub, ↓reduceIte]
-s    rw [ih v rest h.1]
-    simp only [length_append_sub, ↓reduceIte]
-e    rw [ih v rest h.1]
-    simp only [length_append_sub, ↓reduceIte]
-     rw [ih v rest h.1]
-    simp only [length_append_sub, ↓reduceIte]
-i    rw [ih v rest h.1]
-    simp only [length_append_sub, ↓reduceIte]
-8    rw [ih v rest h.1]
-    simp only [length_append_sub, ↓reduceIte]
-.    rw [ih v rest h.1]
-    simp only [length_append_sub, ↓reduceIte]
-i    rw [ih v rest h.1]
-    simp only [length_append_sub, ↓reduceIte]
-n    rw [ih v rest h.1]
-    simp only [length_append_sub, ↓reduceIte]
-t    rw [ih v rest h.1]
-    simp only [length_append_sub, ↓reduceIte]
-     rw [ih v rest h.1]
-    simp only [length_append_sub, ↓reduceIte]
-x    rw [ih v rest h.1]
-    simp only [length_append_sub, ↓reduceIte]
-     rw [ih v rest h.1]
-    simp only [length_append_sub, ↓reduceIte]
-=    rw [ih v rest h.1]
-    simp only [length_append_sub, ↓reduceIte]
->    rw [ih v rest h.1]
-    simp only [length_append_sub, ↓reduceIte]
-     rw [ih v rest h.1]
-    simp only [length_append_sub, ↓reduceIte]
-r    rw [ih v rest h.1]
-    simp only [length_append_sub, ↓reduceIte]
-w    rw [ih v rest h.1]
-    simp only [length_append_sub, ↓reduceIte]
-     rw [ih v rest h.1]
-    simp only [length_append_sub, ↓reduceIte]
-[    rw [ih v rest h.1]
-    simp only [length_append_sub, ↓reduceIte]
-g    rw [ih v rest h.1]
-    simp only [length_append_sub, ↓reduceIte]
-e    rw [ih v rest h.1]
-    simp only [length_append_sub, ↓reduceIte]
-t    rw [ih v rest h.1]
-    simp only [length_append_sub, ↓reduceIte]
-I    rw [ih v rest h.1]
-    simp only [length_append_sub, ↓reduceIte]
-n    rw [ih v rest h.1]
-    simp only [length_append_sub, ↓reduceIte]
-t    rw [ih v rest h.1]
-    simp only [length_append_sub, ↓reduceIte]
-_    rw [ih v rest h.1]
-    simp only [length_append_sub, ↓reduceIte]
-p    rw [ih v rest h.1]
-    simp only [length_append_sub, ↓reduceIte]
-u    rw [ih v rest h.1]
-    simp only [length_append_sub, ↓reduceIte]
-t    rw [ih v rest h.1]
-    simp only [length_append_sub, ↓reduceIte]
-I    rw [ih v rest h.1]
-    simp only [length_append_sub, ↓reduceIte]
-n    rw [ih v rest h.1]
-    simp only [length_append_sub, ↓reduceIte]
-t    rw [ih v rest h.1]
-    simp only [length_append_sub, ↓reduceIte]
-     rw [ih v rest h.1]
-    simp only [length_append_sub, ↓reduceIte]
-1    rw [ih v rest h.1]
-    simp only [length_append_sub, ↓reduceIte]
-     rw [ih v rest h.1]
-    simp only [length_append_sub, ↓reduceIte]
-x    rw [ih v rest h.1]
-    simp only [length_append_sub, ↓reduceIte]
-     rw [ih v rest h.1]
-    simp only [length_append_sub, ↓reduceIte]
-r    rw [ih v rest h.1]
-    simp only [length_append_sub, ↓reduceIte]
-e    rw [ih v rest h.1]
-    simp only [length_append_sub, ↓reduceIte]
-s    rw [ih v rest h.1]
-    simp only [length_append_sub, ↓reduceIte]
-t    rw [ih v rest h.1]
-    simp only [length_append_sub, ↓reduceIte]
-     rw [ih v rest h.1]
-    simp only [length_append_sub, ↓reduceIte]
-(    rw [ih v rest h.1]
-    simp only [length_append_sub, ↓reduceIte]
-b    rw [ih v rest h.1]
-    simp only [length_append_sub, ↓reduceIte]
-y    rw [ih v rest h.1]
-    simp only [length_append_sub, ↓reduceIte]
-     rw [ih v rest h.1]
-    simp only [length_append_sub, ↓reduceIte]
-d    rw [ih v rest h.1]
-    simp only [length_append_sub, ↓reduceIte]
-e    rw [ih v rest h.1]
-    simp only [length_append_sub, ↓reduceIte]
-c    rw [ih v rest h.1]
-    simp only [length_append_sub, ↓reduceIte]
-i    rw [ih v rest h.1]
-    simp only [length_append_sub, ↓reduceIte]
-d    rw [ih v rest h.1]
-    simp only [length_append_sub, ↓reduceIte]
-e    rw [ih v rest h.1]
-    simp only [length_append_sub, ↓reduceIte]
-)    rw [ih v rest h.1]
-    simp only [length_append_sub, ↓reduceIte]
-     rw [ih v rest h.1]
-    simp only [length_append_sub, ↓reduceIte]
-h    rw [ih v rest h.1]
-    simp only [length_append_sub, ↓reduceIte]
-]    rw [ih v rest h.1]
-    simp only [length_append_sub, ↓reduceIte]
-;    rw [ih v rest h.1]
-    simp only [length_append_sub, ↓reduceIte]
-     rw [ih v rest h.1]
-    simp only [length_append_sub, ↓reduceIte]
-r    rw [ih v rest h.1]
-    simp only [length_append_sub, ↓reduceIte]
-f    rw [ih v rest h.1]
-    simp only [length_append_sub, ↓reduceIte]
-l    rw [ih v rest h.1]
-    simp only [length_append_sub, ↓reduceIte]
-
-    rw [ih v rest h.1]
-    simp only [length_append_sub, ↓reduceIte]
-     rw [ih v rest h.1]
-    simp only [length_append_sub, ↓reduceIte]
-     rw [ih v rest h.1]
-    simp only [length_append_sub, ↓reduceIte]
-c    rw [ih v rest h.1]
-    simp only [length_append_sub, ↓reduceIte]
-a    rw [ih v rest h.1]
-    simp only [length_append_sub, ↓reduceIte]
-s    rw [ih v rest h.1]
-    simp only [length_append_sub, ↓reduceIte]
-e    rw [ih v rest h.1]
-    simp only [length_append_sub, ↓reduceIte]
-     rw [ih v rest h.1]
-    simp only [length_append_sub, ↓reduceIte]
-i    rw [ih v rest h.1]
-    simp only [length_append_sub, ↓reduceIte]
-1    rw [ih v rest h.1]
-    simp only [length_append_sub, ↓reduceIte]
-6    rw [ih v rest h.1]
-    simp only [length_append_sub, ↓reduceIte]
-.    rw [ih v rest h.1]
-    simp only [length_append_sub, ↓reduceIte]
-i    rw [ih v rest h.1]
-    simp only [length_append_sub, ↓reduceIte]
-n    rw [ih v rest h.1]
-    simp only [length_append_sub, ↓reduceIte]
-t    rw [ih v rest h.1]
-    simp only [length_append_sub, ↓reduceIte]
-     rw [ih v rest h.1]
-    simp only [length_append_sub, ↓reduceIte]
-x    rw [ih v rest h.1]
-    simp only [length_append_sub, ↓reduceIte]
-     rw [ih v rest h.1]
-    simp only [length_append_sub, ↓reduceIte]
-=    rw [ih v rest h.1]
-    simp only [length_append_sub, ↓reduceIte]
->    rw [ih v rest h.1]
-    simp only [length_append_sub, ↓reduceIte]
-     rw [ih v rest h.1]
-    simp only [length_append_sub, ↓reduceIte]
-r    rw [ih v rest h.1]
-    simp only [length_append_sub, ↓reduceIte]
-w    rw [ih v rest h.1]
-    simp only [length_append_sub, ↓reduceIte]
-     rw [ih v rest h.1]
-    simp only [length_append_sub, ↓reduceIte]
-[    rw [ih v rest h.1]
-    simp only [length_append_sub, ↓reduceIte]
-g    rw [ih v rest h.1]
-    simp only [length_append_sub, ↓reduceIte]
-e    rw [ih v rest h.1]
-    simp only [length_append_sub, ↓reduceIte]
-t    rw [ih v rest h.1]
-    simp only [length_append_sub, ↓reduceIte]
-I    rw [ih v rest h.1]
-    simp only [length_append_sub, ↓reduceIte]
-n    rw [ih v rest h.1]
-    simp only [length_append_sub, ↓reduceIte]
-t    rw [ih v rest h.1]
-    simp only [length_append_sub, ↓reduceIte]
-_    rw [ih v rest h.1]
-    simp only [length_append_sub, ↓reduceIte]
-p    rw [ih v rest h.1]
-    simp only [length_append_sub, ↓reduceIte]
-u    rw [ih v rest h.1]
-    simp only [length_append_sub, ↓reduceIte]
-t    rw [ih v rest h.1]
-    simp only [length_append_sub, ↓reduceIte]
-I    rw [ih v rest h.1]
-    simp only [length_append_sub, ↓reduceIte]
-n    rw [ih v rest h.1]
-    simp only [length_append_sub, ↓reduceIte]
-t    rw [ih v rest h.1]
-    simp only [length_append_sub, ↓reduceIte]
-     rw [ih v rest h.1]
-    simp only [length_append_sub, ↓reduceIte]
-2    rw [ih v rest h.1]
-    simp only [length_append_sub, ↓reduceIte]
-     rw [ih v rest h.1]
-    simp only [length_append_sub, ↓reduceIte]
-x    rw [ih v rest h.1]
-    simp only [length_append_sub, ↓reduceIte]
-     rw [ih v rest h.1]
-    simp only [length_append_sub, ↓reduceIte]
-r    rw [ih v rest h.1]
-    simp only [length_append_sub, ↓reduceIte]
-e    rw [ih v rest h.1]
-    simp only [length_append_sub, ↓reduceIte]
-s    rw [ih v rest h.1]
-    simp only [length_append_sub, ↓reduceIte]
-t    rw [ih v rest h.1]
-    simp only [length_append_sub, ↓reduceIte]
-     rw [ih v rest h.1]
-    simp only [length_append_sub, ↓reduceIte]
-(    rw [ih v rest h.1]
-    simp only [length_append_sub, ↓reduceIte]
-b    rw [ih v rest h.1]
-    simp only [length_append_sub, ↓reduceIte]
-y    rw [ih v rest h.1]
-    simp only [length_append_sub, ↓reduceIte]
-     rw [ih v rest h.1]
-    simp only [length_append_sub, ↓reduceIte]
-d    rw [ih v rest h.1]
-    simp only [length_append_sub, ↓reduceIte]
-e    rw [ih v rest h.1]
-    simp only [length_append_sub, ↓reduceIte]
-c    rw [ih v rest h.1]
-    simp only [length_append_sub, ↓reduceIte]
-i    rw [ih v rest h.1]
-    simp only [length_append_sub, ↓reduceIte]
-d    rw [ih v rest h.1]
-    simp only [length_append_sub, ↓reduceIte]
-e    rw [ih v rest h.1]
-    simp only [length_append_sub, ↓reduceIte]
-)    rw [ih v rest h.1]
-    simp only [length_append_sub, ↓reduceIte]
-     rw [ih v rest h.1]
-    simp only [length_append_sub, ↓reduceIte]
-h    rw [ih v rest h.1]
-    simp only [length_append_sub, ↓reduceIte]
-]    rw [ih v rest h.1]
-    simp only [length_append_sub, ↓reduceIte]
-;    rw [ih v rest h.1]
-    simp only [length_append_sub, ↓reduceIte]
-     rw [ih v rest h.1]
-    simp only [length_append_sub, ↓reduceIte]
-r    rw [ih v rest h.1]
-    simp only [length_append_sub, ↓reduceIte]
-f    rw [ih v rest h.1]
-    simp only [length_append_sub, ↓reduceIte]
-l    rw [ih v rest h.1]
-    simp only [length_append_sub, ↓reduceIte]
-
-    rw [ih v rest h.1]
-    simp only [length_append_sub, ↓reduceIte]
-     rw [ih v rest h.1]
-    simp only [length_append_sub, ↓reduceIte]
-     rw [ih v rest h.1]
-    simp only [length_append_sub, ↓reduceIte]
-c    rw [ih v rest h.1]
-    simp only [length_append_sub, ↓reduceIte]
-a    rw [ih v rest h.1]
-    simp only [length_append_sub, ↓reduceIte]
-s    rw [ih v rest h.1]
-    simp only [length_append_sub, ↓reduceIte]
-e    rw [ih v rest h.1]
-    simp only [length_append_sub, ↓reduceIte]
-     rw [ih v rest h.1]
-    simp only [length_append_sub, ↓reduceIte]
-i    rw [ih v rest h.1]
-    simp only [length_append_sub, ↓reduceIte]
-3    rw [ih v rest h.1]
-    simp only [length_append_sub, ↓reduceIte]
-2    rw [ih v rest h.1]
-    simp only [length_append_sub, ↓reduceIte]
-.    rw [ih v rest h.1]
-    simp only [length_append_sub, ↓reduceIte]
-i    rw [ih v rest h.1]
-    simp only [length_append_sub, ↓reduceIte]
-n    rw [ih v rest h.1]
-    simp only [length_append_sub, ↓reduceIte]
-t    rw [ih v rest h.1]
-    simp only [length_append_sub, ↓reduceIte]
-     rw [ih v rest h.1]
-    simp only [length_append_sub, ↓reduceIte]
-x    rw [ih v rest h.1]
-    simp only [length_append_sub, ↓reduceIte]
-     rw [ih v rest h.1]
-    simp only [length_append_sub, ↓reduceIte]
-=    rw [ih v rest h.1]
-    simp only [length_append_sub, ↓reduceIte]
->    rw [ih v rest h.1]
-    simp only [length_append_sub, ↓reduceIte]
-     rw [ih v rest h.1]
-    simp only [length_append_sub, ↓reduceIte]
-r    rw [ih v rest h.1]
-    simp only [length_append_sub, ↓reduceIte]
-w    rw [ih v rest h.1]
-    simp only [length_append_sub, ↓reduceIte]
-     rw [ih v rest h.1]
-    simp only [length_append_sub, ↓reduceIte]
-[    rw [ih v rest h.1]
-    simp only [length_append_sub, ↓reduceIte]
-g    rw [ih v rest h.1]
-    simp only [length_append_sub, ↓reduceIte]
-e    rw [ih v rest h.1]
-    simp only [length_append_sub, ↓reduceIte]
-t    rw [ih v rest h.1]
-    simp only [length_append_sub, ↓reduceIte]
-I    rw [ih v rest h.1]
-    simp only [length_append_sub, ↓reduceIte]
-n    rw [ih v rest h.1]
-    simp only [length_append_sub, ↓reduceIte]
-t    rw [ih v rest h.1]
-    simp only [length_append_sub, ↓reduceIte]
-_    rw [ih v rest h.1]
-    simp only [length_append_sub, ↓reduceIte]
-p    rw [ih v rest h.1]
-    simp only [length_append_sub, ↓reduceIte]
-u    rw [ih v rest h.1]
-    simp only [length_append_sub, ↓reduceIte]
-t    rw [ih v rest h.1]
-    simp only [length_append_sub, ↓reduceIte]
-I    rw [ih v rest h.1]
-    simp only [length_append_sub, ↓reduceIte]
-n    rw [ih v rest h.1]
-    simp only [length_append_sub, ↓reduceIte]
-t    rw [ih v rest h.1]
-    simp only [length_append_sub, ↓reduceIte]
-     rw [ih v rest h.1]
-    simp only [length_append_sub, ↓reduceIte]
-4    rw [ih v rest h.1]
-    simp only [length_append_sub, ↓reduceIte]
-     rw [ih v rest h.1]
-    simp only [length_append_sub, ↓reduceIte]
-x    rw [ih v rest h.1]
-    simp only [length_append_sub, ↓reduceIte]
-     rw [ih v rest h.1]
-    simp only [length_append_sub, ↓reduceIte]
-r    rw [ih v rest h.1]
-    simp only [length_append_sub, ↓reduceIte]
-e    rw [ih v rest h.1]
-    simp only [length_append_sub, ↓reduceIte]
-s    rw [ih v rest h.1]
-    simp only [length_append_sub, ↓reduceIte]
-t    rw [ih v rest h.1]
-    simp only [length_append_sub, ↓reduceIte]
-     rw [ih v rest h.1]
-    simp only [length_append_sub, ↓reduceIte]
-(    rw [ih v rest h.1]
-    simp only [length_append_sub, ↓reduceIte]
-b    rw [ih v rest h.1]
-    simp only [length_append_sub, ↓reduceIte]
-y    rw [ih v rest h.1]
-    simp only [length_append_sub, ↓reduceIte]
-     rw [ih v rest h.1]
-    simp only [length_append_sub, ↓reduceIte]
-d    rw [ih v rest h.1]
-    simp only [length_append_sub, ↓reduceIte]
-e    rw [ih v rest h.1]
-    simp only [length_append_sub, ↓reduceIte]
-c    rw [ih v rest h.1]
-    simp only [length_append_sub, ↓reduceIte]
-i    rw [ih v rest h.1]
-    simp only [length_append_sub, ↓reduceIte]
-d    rw [ih v rest h.1]
-    simp only [length_append_sub, ↓reduceIte]
-e    rw [ih v rest h.1]
-    simp only [length_append_sub, ↓reduceIte]
-)    rw [ih v rest h.1]
-    simp only [length_append_sub, ↓reduceIte]
-     rw [ih v rest h.1]
-    simp only [length_append_sub, ↓reduceIte]
-h    rw [ih v rest h.1]
-    simp only [length_append_sub, ↓reduceIte]
-]    rw [ih v rest h.1]
-    simp only [length_append_sub, ↓reduceIte]
-;    rw [ih v rest h.1]
-    simp only [length_append_sub, ↓reduceIte]
-     rw [ih v rest h.1]
-    simp only [length_append_sub, ↓reduceIte]
-r    rw [ih v rest h.1]
-    simp only [length_append_sub, ↓reduceIte]
-f    rw [ih v rest h.1]
-    simp only [length_append_sub, ↓reduceIte]
-l    rw [ih v rest h.1]
-    simp only [length_append_sub, ↓reduceIte]
-
-    rw [ih v rest h.1]
-    simp only [length_append_sub, ↓reduceIte]
-     rw [ih v rest h.1]
-    simp only [length_append_sub, ↓reduceIte]
-     rw [ih v rest h.1]
-    simp only [length_append_sub, ↓reduceIte]
-c    rw [ih v rest h.1]
-    simp only [length_append_sub, ↓reduceIte]
-a    rw [ih v rest h.1]
-    simp only [length_append_sub, ↓reduceIte]
-s    rw [ih v rest h.1]
-    simp only [length_append_sub, ↓reduceIte]
-e    rw [ih v rest h.1]
-    simp only [length_append_sub, ↓reduceIte]
-     rw [ih v rest h.1]
-    simp only [length_append_sub, ↓reduceIte]
-i    rw [ih v rest h.1]
-    simp only [length_append_sub, ↓reduceIte]
-6    rw [ih v rest h.1]
-    simp only [length_append_sub, ↓reduceIte]
-4    rw [ih v rest h.1]
-    simp only [length_append_sub, ↓reduceIte]
-.    rw [ih v rest h.1]
-    simp only [length_append_sub, ↓reduceIte]
-i    rw [ih v rest h.1]
-    simp only [length_append_sub, ↓reduceIte]
-n    rw [ih v rest h.1]
-    simp only [length_append_sub, ↓reduceIte]
-t    rw [ih v rest h.1]
-    simp only [length_append_sub, ↓reduceIte]
-     rw [ih v rest h.1]
-    simp only [length_append_sub, ↓reduceIte]
-x    rw [ih v rest h.1]
-    simp only [length_append_sub, ↓reduceIte]
-     rw [ih v rest h.1]
-    simp only [length_append_sub, ↓reduceIte]
-=    rw [ih v rest h.1]
-    simp only [length_append_sub, ↓reduceIte]
->    rw [ih v rest h.1]
-    simp only [length_append_sub, ↓reduceIte]
-     rw [ih v rest h.1]
-    simp only [length_append_sub, ↓reduceIte]
-r    rw [ih v rest h.1]
-    simp only [length_append_sub, ↓reduceIte]
-w    rw [ih v rest h.1]
-    simp only [length_append_sub, ↓reduceIte]
-     rw [ih v rest h.1]
-    simp only [length_append_sub, ↓reduceIte]
-[    rw [ih v rest h.1]
-    simp only [length_append_sub, ↓reduceIte]
-g    rw [ih v rest h.1]
-    simp only [length_append_sub, ↓reduceIte]
-e    rw [ih v rest h.1]
-    simp only [length_append_sub, ↓reduceIte]
-t    rw [ih v rest h.1]
-    simp only [length_append_sub, ↓reduceIte]
-I    rw [ih v rest h.1]
-    simp only [length_append_sub, ↓reduceIte]
-n    rw [ih v rest h.1]
-    simp only [length_append_sub, ↓reduceIte]
-t    rw [ih v rest h.1]
-    simp only [length_append_sub, ↓reduceIte]
-_    rw [ih v rest h.1]
-    simp only [length_append_sub, ↓reduceIte]
-p    rw [ih v rest h.1]
-    simp only [length_append_sub, ↓reduceIte]
-u    rw [ih v rest h.1]
-    simp only [length_append_sub, ↓reduceIte]
-t    rw [ih v rest h.1]
-    simp only [length_append_sub, ↓reduceIte]
-I    rw [ih v rest h.1]
-    simp only [length_append_sub, ↓reduceIte]
-n    rw [ih v rest h.1]
-    simp only [length_append_sub, ↓reduceIte]
-t    rw [ih v rest h.1]
-    simp only [length_append_sub, ↓reduceIte]
-     rw [ih v rest h.1]
-    simp only [length_append_sub, ↓reduceIte]
-8    rw [ih v rest h.1]
-    simp only [length_append_sub, ↓reduceIte]
-     rw [ih v rest h.1]
-    simp only [length_append_sub, ↓reduceIte]
-x    rw [ih v rest h.1]
-    simp only [length_append_sub, ↓reduceIte]
-     rw [ih v rest h.1]
-    simp only [length_append_sub, ↓reduceIte]
-r    rw [ih v rest h.1]
-    simp only [length_append_sub, ↓reduceIte]
-e    rw [ih v rest h.1]
-    simp only [length_append_sub, ↓reduceIte]
-s    rw [ih v rest h.1]
-    simp only [length_append_sub, ↓reduceIte]
-t    rw [ih v rest h.1]
-    simp only [length_append_sub, ↓reduceIte]
-     rw [ih v rest h.1]
-    simp only [length_append_sub, ↓reduceIte]
-(    rw [ih v rest h.1]
-    simp only [length_append_sub, ↓reduceIte]
-b    rw [ih v rest h.1]
-    simp only [length_append_sub, ↓reduceIte]
-y    rw [ih v rest h.1]
-    simp only [length_append_sub, ↓reduceIte]
-     rw [ih v rest h.1]
-    simp only [length_append_sub, ↓reduceIte]
-d    rw [ih v rest h.1]
-    simp only [length_append_sub, ↓reduceIte]
-e    rw [ih v rest h.1]
-    simp only [length_append_sub, ↓reduceIte]
-c    rw [ih v rest h.1]
-    simp only [length_append_sub, ↓reduceIte]
-i    rw [ih v rest h.1]
-    simp only [length_append_sub, ↓reduceIte]
-d    rw [ih v rest h.1]
-    simp only [length_append_sub, ↓reduceIte]
-e    rw [ih v rest h.1]
-    simp only [length_append_sub, ↓reduceIte]
-)    rw [ih v rest h.1]
-    simp only [length_append_sub, ↓reduceIte]
-     rw [ih v rest h.1]
-    simp only [length_append_sub, ↓reduceIte]
-h    rw [ih v rest h.1]
-    simp only [length_append_sub, ↓reduceIte]
-]    rw [ih v rest h.1]
-    simp only [length_append_sub, ↓reduceIte]
-;    rw [ih v rest h.1]
-    simp only [length_append_sub, ↓reduceIte]
-     rw [ih v rest h.1]
-    simp only [length_append_sub, ↓reduceIte]
-r    rw [ih v rest h.1]
-    simp only [length_append_sub, ↓reduceIte]
-f    rw [ih v rest h.1]
-    simp only [length_append_sub, ↓reduceIte]
-l    rw [ih v rest h.1]
-    simp only [length_append_sub, ↓reduceIte]
-
-    rw [ih v rest h.1]
-    simp only [length_append_sub, ↓reduceIte]
-     rw [ih v rest h.1]
-    simp only [length_append_sub, ↓reduceIte]
-     rw [ih v rest h.1]
-    simp only [length_append_sub, ↓reduceIte]
-c    rw [ih v rest h.1]
-    simp only [length_append_sub, ↓reduceIte]
-a    rw [ih v rest h.1]
-    simp only [length_append_sub, ↓reduceIte]
-s    rw [ih v rest h.1]
-    simp only [length_append_sub, ↓reduceIte]
-e    rw [ih v rest h.1]
-    simp only [length_append_sub, ↓reduceIte]
-     rw [ih v rest h.1]
-    simp only [length_append_sub, ↓reduceIte]
-v    rw [ih v rest h.1]
-    simp only [length_append_sub, ↓reduceIte]
-a    rw [ih v rest h.1]
-    simp only [length_append_sub, ↓reduceIte]
-r    rw [ih v rest h.1]
-    simp only [length_append_sub, ↓reduceIte]
-i    rw [ih v rest h.1]
-    simp only [length_append_sub, ↓reduceIte]
-n    rw [ih v rest h.1]
-    simp only [length_append_sub, ↓reduceIte]
-t    rw [ih v rest h.1]
-    simp only [length_append_sub, ↓reduceIte]
-.    rw [ih v rest h.1]
-    simp only [length_append_sub, ↓reduceIte]
-i    rw [ih v rest h.1]
-    simp only [length_append_sub, ↓reduceIte]
-n    rw [ih v rest h.1]
-    simp only [length_append_sub, ↓reduceIte]
-t    rw [ih v rest h.1]
-    simp only [length_append_sub, ↓reduceIte]
-     rw [ih v rest h.1]
-    simp only [length_append_sub, ↓reduceIte]
-x    rw [ih v rest h.1]
-    simp only [length_append_sub, ↓reduceIte]
-     rw [ih v rest h.1]
-    simp only [length_append_sub, ↓reduceIte]
-=    rw [ih v rest h.1]
-    simp only [length_append_sub, ↓reduceIte]
->    rw [ih v rest h.1]
-    simp only [length_append_sub, ↓reduceIte]
-     rw [ih v rest h.1]
-    simp only [length_append_sub, ↓reduceIte]
-r    rw [ih v rest h.1]
-    simp only [length_append_sub, ↓reduceIte]
-w    rw [ih v rest h.1]
-    simp only [length_append_sub, ↓reduceIte]
-     rw [ih v rest h.1]
-    simp only [length_append_sub, ↓reduceIte]
-[    rw [ih v rest h.1]
-    simp only [length_append_sub, ↓reduceIte]
-g    rw [ih v rest h.1]
-    simp only [length_append_sub, ↓reduceIte]
-e    rw [ih v rest h.1]
-    simp only [length_append_sub, ↓reduceIte]
-t    rw [ih v rest h.1]
-    simp only [length_append_sub, ↓reduceIte]
-V    rw [ih v rest h.1]
-    simp only [length_append_sub, ↓reduceIte]
-a    rw [ih v rest h.1]
-    simp only [length_append_sub, ↓reduceIte]
-r    rw [ih v rest h.1]
-    simp only [length_append_sub, ↓reduceIte]
-i    rw [ih v rest h.1]
-    simp only [length_append_sub, ↓reduceIte]
-n    rw [ih v rest h.1]
-    simp only [length_append_sub, ↓reduceIte]
-t    rw [ih v rest h.1]
-    simp only [length_append_sub, ↓reduceIte]
-_    rw [ih v rest h.1]
-    simp only [length_append_sub, ↓reduceIte]
-p    rw [ih v rest h.1]
-    simp only [length_append_sub, ↓reduceIte]
-u    rw [ih v rest h.1]
-    simp only [length_append_sub, ↓reduceIte]
-t    rw [ih v rest h.1]
-    simp only [length_append_sub, ↓reduceIte]
-V    rw [ih v rest h.1]
-    simp only [length_append_sub, ↓reduceIte]
-a    rw [ih v rest h.1]
-    simp only [length_append_sub, ↓reduceIte]
-r    rw [ih v rest h.1]
-    simp only [length_append_sub, ↓reduceIte]
-i    rw [ih v rest h.1]
-    simp only [length_append_sub, ↓reduceIte]
-n    rw [ih v rest h.1]
-    simp only [length_append_sub, ↓reduceIte]
-t    rw [ih v rest h.1]
-    simp only [length_append_sub, ↓reduceIte]
-     rw [ih v rest h.1]
-    simp only [length_append_sub, ↓reduceIte]
-x    rw [ih v rest h.1]
-    simp only [length_append_sub, ↓reduceIte]
-     rw [ih v rest h.1]
-    simp only [length_append_sub, ↓reduceIte]
-r    rw [ih v rest h.1]
-    simp only [length_append_sub, ↓reduceIte]
-e    rw [ih v rest h.1]
-    simp only [length_append_sub, ↓reduceIte]
-s    rw [ih v rest h.1]
-    simp only [length_append_sub, ↓reduceIte]
-t    rw [ih v rest h.1]
-    simp only [length_append_sub, ↓reduceIte]
-     rw [ih v rest h.1]
-    simp only [length_append_sub, ↓reduceIte]
-h    rw [ih v rest h.1]
-    simp only [length_append_sub, ↓reduceIte]
-]    rw [ih v rest h.1]
-    simp only [length_append_sub, ↓reduceIte]
-;    rw [ih v rest h.1]
-    simp only [length_append_sub, ↓reduceIte]
-     rw [ih v rest h.1]
-    simp only [length_append_sub, ↓reduceIte]
-r    rw [ih v rest h.1]
-    simp only [length_append_sub, ↓reduceIte]
-f    rw [ih v rest h.1]
-    simp only [length_append_sub, ↓reduceIte]
-l    rw [ih v rest h.1]
-    simp only [length_append_sub, ↓reduceIte]
-
-    rw [ih v rest h.1]
-    simp only [length_append_sub, ↓reduceIte]
-     rw [ih v rest h.1]
-    simp only [length_append_sub, ↓reduceIte]
-     rw [ih v rest h.1]
-    simp only [length_append_sub, ↓reduceIte]
-c    rw [ih v rest h.1]
-    simp only [length_append_sub, ↓reduceIte]
-a    rw [ih v rest h.1]
-    simp only [length_append_sub, ↓reduceIte]
-s    rw [ih v rest h.1]
-    simp only [length_append_sub, ↓reduceIte]
-e    rw [ih v rest h.1]
-    simp only [length_append_sub, ↓reduceIte]
-     rw [ih v rest h.1]
-    simp only [length_append_sub, ↓reduceIte]
-u    rw [ih v rest h.1]
-    simp only [length_append_sub, ↓reduceIte]
-v    rw [ih v rest h.1]
-    simp only [length_append_sub, ↓reduceIte]
-a    rw [ih v rest h.1]
-    simp only [length_append_sub, ↓reduceIte]
-r    rw [ih v rest h.1]
-    simp only [length_append_sub, ↓reduceIte]
-i    rw [ih v rest h.1]
-    simp only [length_append_sub, ↓reduceIte]
-n    rw [ih v rest h.1]
-    simp only [length_append_sub, ↓reduceIte]
-t    rw [ih v rest h.1]
-    simp only [length_append_sub, ↓reduceIte]
-.    rw [ih v rest h.1]
-    simp only [length_append_sub, ↓reduceIte]
-i    rw [ih v rest h.1]
-    simp only [length_append_sub, ↓reduceIte]
-n    rw [ih v rest h.1]
-    simp only [length_append_sub, ↓reduceIte]
-t    rw [ih v rest h.1]
-    simp only [length_append_sub, ↓reduceIte]
-     rw [ih v rest h.1]
-    simp only [length_append_sub, ↓reduceIte]
-x    rw [ih v rest h.1]
-    simp only [length_append_sub, ↓reduceIte]
-     rw [ih v rest h.1]
-    simp only [length_append_sub, ↓reduceIte]
-=    rw [ih v rest h.1]
-    simp only [length_append_sub, ↓reduceIte]
->    rw [ih v rest h.1]
-    simp only [length_append_sub, ↓reduceIte]
-
-    rw [ih v rest h.1]
-    simp only [length_append_sub, ↓reduceIte]
-     rw [ih v rest h.1]
-    simp only [length_append_sub, ↓reduceIte]
-     rw [ih v rest h.1]
-    simp only [length_append_sub, ↓reduceIte]
-     rw [ih v rest h.1]
-    simp only [length_append_sub, ↓reduceIte]
-     rw [ih v rest h.1]
-    simp only [length_append_sub, ↓reduceIte]
-h    rw [ih v rest h.1]
-    simp only [length_append_sub, ↓reduceIte]
-a    rw [ih v rest h.1]
-    simp only [length_append_sub, ↓reduceIte]
-v    rw [ih v rest h.1]
-    simp only [length_append_sub, ↓reduceIte]
-e    rw [ih v rest h.1]
-    simp only [length_append_sub, ↓reduceIte]
-     rw [ih v rest h.1]
-    simp only [length_append_sub, ↓reduceIte]
-h    rw [ih v rest h.1]
-    simp only [length_append_sub, ↓reduceIte]
-x    rw [ih v rest h.1]
-    simp only [length_append_sub, ↓reduceIte]
-     rw [ih v rest h.1]
-    simp only [length_append_sub, ↓reduceIte]
-:    rw [ih v rest h.1]
-    simp only [length_append_sub, ↓reduceIte]
-     rw [ih v rest h.1]
-    simp only [length_append_sub, ↓reduceIte]
-x    rw [ih v rest h.1]
-    simp only [length_append_sub, ↓reduceIte]
-.    rw [ih v rest h.1]
-    simp only [length_append_sub, ↓reduceIte]
-t    rw [ih v rest h.1]
-    simp only [length_append_sub, ↓reduceIte]
-o    rw [ih v rest h.1]
-    simp only [length_append_sub, ↓reduceIte]
-N    rw [ih v rest h.1]
-    simp only [length_append_sub, ↓reduceIte]
-a    rw [ih v rest h.1]
-    simp only [length_append_sub, ↓reduceIte]
-t    rw [ih v rest h.1]
-    simp only [length_append_sub, ↓reduceIte]
-     rw [ih v rest h.1]
-    simp only [length_append_sub, ↓reduceIte]
-<    rw [ih v rest h.1]
-    simp only [length_append_sub, ↓reduceIte]
-     rw [ih v rest h.1]
-    simp only [length_append_sub, ↓reduceIte]
-2    rw [ih v rest h.1]
-    simp only [length_append_sub, ↓reduceIte]
-     rw [ih v rest h.1]
-    simp only [length_append_sub, ↓reduceIte]
-^    rw [ih v rest h.1]
-    simp only [length_append_sub, ↓reduceIte]
-     rw [ih v rest h.1]
-    simp only [length_append_sub, ↓reduceIte]
-6    rw [ih v rest h.1]
-    simp only [length_append_sub, ↓reduceIte]
-4    rw [ih v rest h.1]
-    simp only [length_append_sub, ↓reduceIte]
-     rw [ih v rest h.1]
-    simp only [length_append_sub, ↓reduceIte]
-:    rw [ih v rest h.1]
-    simp only [length_append_sub, ↓reduceIte]
-=    rw [ih v rest h.1]
-    simp only [length_append_sub, ↓reduceIte]
-     rw [ih v rest h.1]
-    simp only [length_append_sub, ↓reduceIte]
-b    rw [ih v rest h.1]
-    simp only [length_append_sub, ↓reduceIte]
-y    rw [ih v rest h.1]
-    simp only [length_append_sub, ↓reduceIte]
-
-    rw [ih v rest h.1]
-    simp only [length_append_sub, ↓reduceIte]
-     rw [ih v rest h.1]
-    simp only [length_append_sub, ↓reduceIte]
-     rw [ih v rest h.1]
-    simp only [length_append_sub, ↓reduceIte]
-     rw [ih v rest h.1]
-    simp only [length_append_sub, ↓reduceIte]
-     rw [ih v rest h.1]
-    simp only [length_append_sub, ↓reduceIte]
-     rw [ih v rest h.1]
-    simp only [length_append_sub, ↓reduceIte]
-     rw [ih v rest h.1]
-    simp only [length_append_sub, ↓reduceIte]
-h    rw [ih v rest h.1]
-    simp only [length_append_sub, ↓reduceIte]
-a    rw [ih v rest h.1]
-    simp only [length_append_sub, ↓reduceIte]
-v    rw [ih v rest h.1]
-    simp only [length_append_sub, ↓reduceIte]
-e    rw [ih v rest h.1]
-    simp only [length_append_sub, ↓reduceIte]
-     rw [ih v rest h.1]
-    simp only [length_append_sub, ↓reduceIte]
-h    rw [ih v rest h.1]
-    simp only [length_append_sub, ↓reduceIte]
-2    rw [ih v rest h.1]
-    simp only [length_append_sub, ↓reduceIte]
-     rw [ih v rest h.1]
-    simp only [length_append_sub, ↓reduceIte]
-:    rw [ih v rest h.1]
-    simp only [length_append_sub, ↓reduceIte]
-=    rw [ih v rest h.1]
-    simp only [length_append_sub, ↓reduceIte]
-     rw [ih v rest h.1]
-    simp only [length_append_sub, ↓reduceIte]
-h    rw [ih v rest h.1]
-    simp only [length_append_sub, ↓reduceIte]
-.    rw [ih v rest h.1]
-    simp only [length_append_sub, ↓reduceIte]
-2    rw [ih v rest h.1]
-    simp only [length_append_sub, ↓reduceIte]
-
-    rw [ih v rest h.1]
-    simp only [length_append_sub, ↓reduceIte]
-     rw [ih v rest h.1]
-    simp only [length_append_sub, ↓reduceIte]
-     rw [ih v rest h.1]
-    simp only [length_append_sub, ↓reduceIte]
-     rw [ih v rest h.1]
-    simp only [length_append_sub, ↓reduceIte]
-     rw [ih v rest h.1]
-    simp only [length_append_sub, ↓reduceIte]
-     rw [ih v rest h.1]
-    simp only [length_append_sub, ↓reduceIte]
-     rw [ih v rest h.1]
-    simp only [length_append_sub, ↓reduceIte]
-s    rw [ih v rest h.1]
-    simp only [length_append_sub, ↓reduceIte]
-i    rw [ih v rest h.1]
-    simp only [length_append_sub, ↓reduceIte]
-m    rw [ih v rest h.1]
-    simp only [length_append_sub, ↓reduceIte]
-p    rw [ih v rest h.1]
-    simp only [length_append_sub, ↓reduceIte]
-     rw [ih v rest h.1]
-    simp only [length_append_sub, ↓reduceIte]
-o    rw [ih v rest h.1]
-    simp only [length_append_sub, ↓reduceIte]
-n    rw [ih v rest h.1]
-    simp only [length_append_sub, ↓reduceIte]
-l    rw [ih v rest h.1]
-    simp only [length_append_sub, ↓reduceIte]
-y    rw [ih v rest h.1]
-    simp only [length_append_sub, ↓reduceIte]
-     rw [ih v rest h.1]
-    simp only [length_append_sub, ↓reduceIte]
-[    rw [ih v rest h.1]
-    simp only [length_append_sub, ↓reduceIte]
-N    rw [ih v rest h.1]
-    simp only [length_append_sub, ↓reduceIte]
-a    rw [ih v rest h.1]
-    simp only [length_append_sub, ↓reduceIte]
-t    rw [ih v rest h.1]
-    simp only [length_append_sub, ↓reduceIte]
-.    rw [ih v rest h.1]
-    simp only [length_append_sub, ↓reduceIte]
-r    rw [ih v rest h.1]
-    simp only [length_append_sub, ↓reduceIte]
-e    rw [ih v rest h.1]
-    simp only [length_append_sub, ↓reduceIte]
-d    rw [ih v rest h.1]
-    simp only [length_append_sub, ↓reduceIte]
-u    rw [ih v rest h.1]
-    simp only [length_append_sub, ↓reduceIte]
-c    rw [ih v rest h.1]
-    simp only [length_append_sub, ↓reduceIte]
-e    rw [ih v rest h.1]
-    simp only [length_append_sub, ↓reduceIte]
-P    rw [ih v rest h.1]
-    simp only [length_append_sub, ↓reduceIte]
-o    rw [ih v rest h.1]
-    simp only [length_append_sub, ↓reduceIte]
-w    rw [ih v rest h.1]
-    simp only [length_append_sub, ↓reduceIte]
-,    rw [ih v rest h.1]
-    simp only [length_append_sub, ↓reduceIte]
-     rw [ih v rest h.1]
-    simp only [length_append_sub, ↓reduceIte]
-I    rw [ih v rest h.1]
-    simp only [length_append_sub, ↓reduceIte]
-n    rw [ih v rest h.1]
-    simp only [length_append_sub, ↓reduceIte]
-t    rw [ih v rest h.1]
-    simp only [length_append_sub, ↓reduceIte]
-.    rw [ih v rest h.1]
-    simp only [length_append_sub, ↓reduceIte]
-r    rw [ih v rest h.1]
-    simp only [length_append_sub, ↓reduceIte]
-e    rw [ih v rest h.1]
-    simp only [length_append_sub, ↓reduceIte]
-d    rw [ih v rest h.1]
-    simp only [length_append_sub, ↓reduceIte]
-u    rw [ih v rest h.1]
-    simp only [length_append_sub, ↓reduceIte]
-c    rw [ih v rest h.1]
-    simp only [length_append_sub, ↓reduceIte]
-e    rw [ih v rest h.1]
-    simp only [length_append_sub, ↓reduceIte]
-P    rw [ih v rest h.1]
-    simp only [length_append_sub, ↓reduceIte]
-o    rw [ih v rest h.1]
-    simp only [length_append_sub, ↓reduceIte]
-w    rw [ih v rest h.1]
-    simp only [length_append_sub, ↓reduceIte]
-]    rw [ih v rest h.1]
-    simp only [length_append_sub, ↓reduceIte]
-     rw [ih v rest h.1]
-    simp only [length_append_sub, ↓reduceIte]
-a    rw [ih v rest h.1]
-    simp only [length_append_sub, ↓reduceIte]
-t    rw [ih v rest h.1]
-    simp only [length_append_sub, ↓reduceIte]
-     rw [ih v rest h.1]
-    simp only [length_append_sub, ↓reduceIte]
-*    rw [ih v rest h.1]
-    simp only [length_append_sub, ↓reduceIte]
-
-    rw [ih v rest h.1]
-    simp only [length_append_sub, ↓reduceIte]
-     rw [ih v rest h.1]
-    simp only [length_append_sub, ↓reduceIte]
-     rw [ih v rest h.1]
-    simp only [length_append_sub, ↓reduceIte]
-     rw [ih v rest h.1]
-    simp only [length_append_sub, ↓reduceIte]
-     rw [ih v rest h.1]
-    simp only [length_append_sub, ↓reduceIte]
-     rw [ih v rest h.1]
-    simp only [length_append_sub, ↓reduceIte]
-     rw [ih v rest h.1]
-    simp only [length_append_sub, ↓reduceIte]
-o    rw [ih v rest h.1]
-    simp only [length_append_sub, ↓reduceIte]
-m    rw [ih v rest h.1]
-    simp only [length_append_sub, ↓reduceIte]
-e    rw [ih v rest h.1]
-    simp only [length_append_sub, ↓reduceIte]
-g    rw [ih v rest h.1]
-    simp only [length_append_sub, ↓reduceIte]
-a    rw [ih v rest h.1]
-    simp only [length_append_sub, ↓reduceIte]
-
-    rw [ih v rest h.1]
-    simp only [length_append_sub, ↓reduceIte]
-     rw [ih v rest h.1]
-    simp only [length_append_sub, ↓reduceIte]
-     rw [ih v rest h.1]
-    simp only [length_append_sub, ↓reduceIte]
-     rw [ih v rest h.1]
-    simp only [length_append_sub, ↓reduceIte]
-     rw [ih v rest h.1]
-    simp only [length_append_sub, ↓reduceIte]
-r    rw [ih v rest h.1]
-    simp only [length_append_sub, ↓reduceIte]
-w    rw [ih v rest h.1]
-    simp only [length_append_sub, ↓reduceIte]
-     rw [ih v rest h.1]
-    simp only [length_append_sub, ↓reduceIte]
-[    rw [ih v rest h.1]
-    simp only [length_append_sub, ↓reduceIte]
-g    rw [ih v rest h.1]
-    simp only [length_append_sub, ↓reduceIte]
-e    rw [ih v rest h.1]
-    simp only [length_append_sub, ↓reduceIte]
-t    rw [ih v rest h.1]
-    simp only [length_append_sub, ↓reduceIte]
-U    rw [ih v rest h.1]
-    simp only [length_append_sub, ↓reduceIte]
-V    rw [ih v rest h.1]
-    simp only [length_append_sub, ↓reduceIte]
-a    rw [ih v rest h.1]
-    simp only [length_append_sub, ↓reduceIte]
-r    rw [ih v rest h.1]
-    simp only [length_append_sub, ↓reduceIte]
-i    rw [ih v rest h.1]
-    simp only [length_append_sub, ↓reduceIte]
-n    rw [ih v rest h.1]
-    simp only [length_append_sub, ↓reduceIte]
-t    rw [ih v rest h.1]
-    simp only [length_append_sub, ↓reduceIte]
-_    rw [ih v rest h.1]
-    simp only [length_append_sub, ↓reduceIte]
-p    rw [ih v rest h.1]
-    simp only [length_append_sub, ↓reduceIte]
-u    rw [ih v rest h.1]
-    simp only [length_append_sub, ↓reduceIte]
-t    rw [ih v rest h.1]
-    simp only [length_append_sub, ↓reduceIte]
-U    rw [ih v rest h.1]
-    simp only [length_append_sub, ↓reduceIte]
-V    rw [ih v rest h.1]
-    simp only [length_append_sub, ↓reduceIte]
-a    rw [ih v rest h.1]
-    simp only [length_append_sub, ↓reduceIte]
-r    rw [ih v rest h.1]
-    simp only [length_append_sub, ↓reduceIte]
-i    rw [ih v rest h.1]
-    simp only [length_append_sub, ↓reduceIte]
-n    rw [ih v rest h.1]
-    simp only [length_append_sub, ↓reduceIte]
-t    rw [ih v rest h.1]
-    simp only [length_append_sub, ↓reduceIte]
-     rw [ih v rest h.1]
-    simp only [length_append_sub, ↓reduceIte]
-x    rw [ih v rest h.1]
-    simp only [length_append_sub, ↓reduceIte]
-.    rw [ih v rest h.1]
-    simp only [length_append_sub, ↓reduceIte]
-t    rw [ih v rest h.1]
-    simp only [length_append_sub, ↓reduceIte]
-o    rw [ih v rest h.1]
-    simp only [length_append_sub, ↓reduceIte]
-N    rw [ih v rest h.1]
-    simp only [length_append_sub, ↓reduceIte]
-a    rw [ih v rest h.1]
-    simp only [length_append_sub, ↓reduceIte]
-t    rw [ih v rest h.1]
-    simp only [length_append_sub, ↓reduceIte]
-     rw [ih v rest h.1]
-    simp only [length_append_sub, ↓reduceIte]
-r    rw [ih v rest h.1]
-    simp only [length_append_sub, ↓reduceIte]
-e    rw [ih v rest h.1]
-    simp only [length_append_sub, ↓reduceIte]
-s    rw [ih v rest h.1]
-    simp only [length_append_sub, ↓reduceIte]
-t    rw [ih v rest h.1]
-    simp only [length_append_sub, ↓reduceIte]
-     rw [ih v rest h.1]
-    simp only [length_append_sub, ↓reduceIte]
-h    rw [ih v rest h.1]
-    simp only [length_append_sub, ↓reduceIte]
-x    rw [ih v rest h.1]
-    simp only [length_append_sub, ↓reduceIte]
-]    rw [ih v rest h.1]
-    simp only [length_append_sub, ↓reduceIte]
-
-    rw [ih v rest h.1]
-    simp only [length_append_sub, ↓reduceIte]
-     rw [ih v rest h.1]
-    simp only [length_append_sub, ↓reduceIte]
-     rw [ih v rest h.1]
-    simp only [length_append_sub, ↓reduceIte]
-     rw [ih v rest h.1]
-    simp only [length_append_sub, ↓reduceIte]
-     rw [ih v rest h.1]
-    simp only [length_append_sub, ↓reduceIte]
-s    rw [ih v rest h.1]
-    simp only [length_append_sub, ↓reduceIte]
-i    rw [ih v rest h.1]
-    simp only [length_append_sub, ↓reduceIte]
-m    rw [ih v rest h.1]
-    simp only [length_append_sub, ↓reduceIte]
-p    rw [ih v rest h.1]
-    simp only [length_append_sub, ↓reduceIte]
-     rw [ih v rest h.1]
-    simp only [length_append_sub, ↓reduceIte]
-o    rw [ih v rest h.1]
-    simp only [length_append_sub, ↓reduceIte]
-n    rw [ih v rest h.1]
-    simp only [length_append_sub, ↓reduceIte]
-l    rw [ih v rest h.1]
-    simp only [length_append_sub, ↓reduceIte]
-y    rw [ih v rest h.1]
-    simp only [length_append_sub, ↓reduceIte]
-     rw [ih v rest h.1]
-    simp only [length_append_sub, ↓reduceIte]
-[    rw [ih v rest h.1]
-    simp only [length_append_sub, ↓reduceIte]
-m    rw [ih v rest h.1]
-    simp only [length_append_sub, ↓reduceIte]
-a    rw [ih v rest h.1]
-    simp only [length_append_sub, ↓reduceIte]
-p    rw [ih v rest h.1]
-    simp only [length_append_sub, ↓reduceIte]
-F    rw [ih v rest h.1]
-    simp only [length_append_sub, ↓reduceIte]
-s    rw [ih v rest h.1]
-    simp only [length_append_sub, ↓reduceIte]
-t    rw [ih v rest h.1]
-    simp only [length_append_sub, ↓reduceIte]
-,    rw [ih v rest h.1]
-    simp only [length_append_sub, ↓reduceIte]
-     rw [ih v rest h.1]
-    simp only [length_append_sub, ↓reduceIte]
-I    rw [ih v rest h.1]
-    simp only [length_append_sub, ↓reduceIte]
-n    rw [ih v rest h.1]
-    simp only [length_append_sub, ↓reduceIte]
-t    rw [ih v rest h.1]
-    simp only [length_append_sub, ↓reduceIte]
-.    rw [ih v rest h.1]
-    simp only [length_append_sub, ↓reduceIte]
-t    rw [ih v rest h.1]
-    simp only [length_append_sub, ↓reduceIte]
-o    rw [ih v rest h.1]
-    simp only [length_append_sub, ↓reduceIte]
-N    rw [ih v rest h.1]
-    simp only [length_append_sub, ↓reduceIte]
-a    rw [ih v rest h.1]
-    simp only [length_append_sub, ↓reduceIte]
-t    rw [ih v rest h.1]
-    simp only [length_append_sub, ↓reduceIte]
-_    rw [ih v rest h.1]
-    simp only [length_append_sub, ↓reduceIte]
-o    rw [ih v rest h.1]
-    simp only [length_append_sub, ↓reduceIte]
-f    rw [ih v rest h.1]
-    simp only [length_append_sub, ↓reduceIte]
-_    rw [ih v rest h.1]
-    simp only [length_append_sub, ↓reduceIte]
-n    rw [ih v rest h.1]
-    simp only [length_append_sub, ↓reduceIte]
-o    rw [ih v rest h.1]
-    simp only [length_append_sub, ↓reduceIte]
-n    rw [ih v rest h.1]
-    simp only [length_append_sub, ↓reduceIte]
-n    rw [ih v rest h.1]
-    simp only [length_append_sub, ↓reduceIte]
-e    rw [ih v rest h.1]
-    simp only [length_append_sub, ↓reduceIte]
-g    rw [ih v rest h.1]
-    simp only [length_append_sub, ↓reduceIte]
-     rw [ih v rest h.1]
-    simp only [length_append_sub, ↓reduceIte]
-h    rw [ih v rest h.1]
-    simp only [length_append_sub, ↓reduceIte]
-.    rw [ih v rest h.1]
-    simp only [length_append_sub, ↓reduceIte]
-1    rw [ih v rest h.1]
-    simp only [length_append_sub, ↓reduceIte]
-]    rw [ih v rest h.1]
-    simp only [length_append_sub, ↓reduceIte]
-
-    rw [ih v rest h.1]
-    simp only [length_append_sub, ↓reduceIte]
-     rw [ih v rest h.1]
-    simp only [length_append_sub, ↓reduceIte]
-     rw [ih v rest h.1]
-    simp only [length_append_sub, ↓reduceIte]
-c    rw [ih v rest h.1]
-    simp only [length_append_sub, ↓reduceIte]
-a    rw [ih v rest h.1]
-    simp only [length_append_sub, ↓reduceIte]
-s    rw [ih v rest h.1]
-    simp only [length_append_sub, ↓reduceIte]
-e    rw [ih v rest h.1]
-    simp only [length_append_sub, ↓reduceIte]
-     rw [ih v rest h.1]
-    simp only [length_append_sub, ↓reduceIte]
-b    rw [ih v rest h.1]
-    simp only [length_append_sub, ↓reduceIte]
-o    rw [ih v rest h.1]
-    simp only [length_append_sub, ↓reduceIte]
-o    rw [ih v rest h.1]
-    simp only [length_append_sub, ↓reduceIte]
-l    rw [ih v rest h.1]
-    simp only [length_append_sub, ↓reduceIte]
-.    rw [ih v rest h.1]
-    simp only [length_append_sub, ↓reduceIte]
-i    rw [ih v rest h.1]
-    simp only [length_append_sub, ↓reduceIte]
-n    rw [ih v rest h.1]
-    simp only [length_append_sub, ↓reduceIte]
-t    rw [ih v rest h.1]
-    simp only [length_append_sub, ↓reduceIte]
-     rw [ih v rest h.1]
-    simp only [length_append_sub, ↓reduceIte]
-x    rw [ih v rest h.1]
-    simp only [length_append_sub, ↓reduceIte]
-     rw [ih v rest h.1]
-    simp only [length_append_sub, ↓reduceIte]
-=    rw [ih v rest h.1]
-    simp only [length_append_sub, ↓reduceIte]
->    rw [ih v rest h.1]
-    simp only [length_append_sub, ↓reduceIte]
-
-    rw [ih v rest h.1]
-    simp only [length_append_sub, ↓reduceIte]
-     rw [ih v rest h.1]
-    simp only [length_append_sub, ↓reduceIte]
-     rw [ih v rest h.1]
-    simp only [length_append_sub, ↓reduceIte]
-     rw [ih v rest h.1]
-    simp only [length_append_sub, ↓reduceIte]
-     rw [ih v rest h.1]
-    simp only [length_append_sub, ↓reduceIte]
-r    rw [ih v rest h.1]
-    simp only [length_append_sub, ↓reduceIte]
-w    rw [ih v rest h.1]
-    simp only [length_append_sub, ↓reduceIte]
-     rw [ih v rest h.1]
-    simp only [length_append_sub, ↓reduceIte]
-[    rw [ih v rest h.1]
-    simp only [length_append_sub, ↓reduceIte]
-g    rw [ih v rest h.1]
-    simp only [length_append_sub, ↓reduceIte]
-e    rw [ih v rest h.1]
-    simp only [length_append_sub, ↓reduceIte]
-t    rw [ih v rest h.1]
-    simp only [length_append_sub, ↓reduceIte]
-B    rw [ih v rest h.1]
-    simp only [length_append_sub, ↓reduceIte]
-o    rw [ih v rest h.1]
-    simp only [length_append_sub, ↓reduceIte]
-o    rw [ih v rest h.1]
-    simp only [length_append_sub, ↓reduceIte]
-l    rw [ih v rest h.1]
-    simp only [length_append_sub, ↓reduceIte]
-_    rw [ih v rest h.1]
-    simp only [length_append_sub, ↓reduceIte]
-p    rw [ih v rest h.1]
-    simp only [length_append_sub, ↓reduceIte]
-u    rw [ih v rest h.1]
-    simp only [length_append_sub, ↓reduceIte]
-t    rw [ih v rest h.1]
-    simp only [length_append_sub, ↓reduceIte]
-B    rw [ih v rest h.1]
-    simp only [length_append_sub, ↓reduceIte]
-o    rw [ih v rest h.1]
-    simp only [length_append_sub, ↓reduceIte]
-o    rw [ih v rest h.1]
-    simp only [length_append_sub, ↓reduceIte]
-l    rw [ih v rest h.1]
-    simp only [length_append_sub, ↓reduceIte]
-]    rw [ih v rest h.1]
-    simp only [length_append_sub, ↓reduceIte]
-
-    rw [ih v rest h.1]
-    simp only [length_append_sub, ↓reduceIte]
-     rw [ih v rest h.1]
-    simp only [length_append_sub, ↓reduceIte]
-     rw [ih v rest h.1]
-    simp only [length_append_sub, ↓reduceIte]
-     rw [ih v rest h.1]
-    simp only [length_append_sub, ↓reduceIte]
-     rw [ih v rest h.1]
-    simp only [length_append_sub, ↓reduceIte]
-r    rw [ih v rest h.1]
-    simp only [length_append_sub, ↓reduceIte]
-c    rw [ih v rest h.1]
-    simp only [length_append_sub, ↓reduceIte]
-a    rw [ih v rest h.1]
-    simp only [length_append_sub, ↓reduceIte]
-s    rw [ih v rest h.1]
-    simp only [length_append_sub, ↓reduceIte]
-e    rw [ih v rest h.1]
-    simp only [length_append_sub, ↓reduceIte]
-s    rw [ih v rest h.1]
-    simp only [length_append_sub, ↓reduceIte]
-     rw [ih v rest h.1]
-    simp only [length_append_sub, ↓reduceIte]
-h    rw [ih v rest h.1]
-    simp only [length_append_sub, ↓reduceIte]
-     rw [ih v rest h.1]
-    simp only [length_append_sub, ↓reduceIte]
-w    rw [ih v rest h.1]
-    simp only [length_append_sub, ↓reduceIte]
-i    rw [ih v rest h.1]
-    simp only [length_append_sub, ↓reduceIte]
-t    rw [ih v rest h.1]
-    simp only [length_append_sub, ↓reduceIte]
-h    rw [ih v rest h.1]
-    simp only [length_append_sub, ↓reduceIte]
-     rw [ih v rest h.1]
-    simp only [length_append_sub, ↓reduceIte]
-h    rw [ih v rest h.1]
-    simp only [length_append_sub, ↓reduceIte]
-     rw [ih v rest h.1]
-    simp only [length_append_sub, ↓reduceIte]
-|    rw [ih v rest h.1]
-    simp only [length_append_sub, ↓reduceIte]
-     rw [ih v rest h.1]
-    simp only [length_append_sub, ↓reduceIte]
-h    rw [ih v rest h.1]
-    simp only [length_append_sub, ↓reduceIte]
-     rw [ih v rest h.1]
-    simp only [length_append_sub, ↓reduceIte]
-<    rw [ih v rest h.1]
-    simp only [length_append_sub, ↓reduceIte]
-;    rw [ih v rest h.1]
-    simp only [length_append_sub, ↓reduceIte]
->    rw [ih v rest h.1]
-    simp only [length_append_sub, ↓reduceIte]
-     rw [ih v rest h.1]
-    simp only [length_append_sub, ↓reduceIte]
-s    rw [ih v rest h.1]
-    simp only [length_append_sub, ↓reduceIte]
-u    rw [ih v rest h.1]
-    simp only [length_append_sub, ↓reduceIte]
-b    rw [ih v rest h.1]
-    simp only [length_append_sub, ↓reduceIte]
-s    rw [ih v rest h.1]
-    simp only [length_append_sub, ↓reduceIte]
-t    rw [ih v rest h.1]
-    simp only [length_append_sub, ↓reduceIte]
-     rw [ih v rest h.1]
-    simp only [length_append_sub, ↓reduceIte]
-h    rw [ih v rest h.1]
-    simp only [length_append_sub, ↓reduceIte]
-     rw [ih v rest h.1]
-    simp only [length_append_sub, ↓reduceIte]
-<    rw [ih v rest h.1]
-    simp only [length_append_sub, ↓reduceIte]
-;    rw [ih v rest h.1]
-    simp only [length_append_sub, ↓reduceIte]
->    rw [ih v rest h.1]
-    simp only [length_append_sub, ↓reduceIte]
-     rw [ih v rest h.1]
-    simp only [length_append_sub, ↓reduceIte]
-r    rw [ih v rest h.1]
-    simp only [length_append_sub, ↓reduceIte]
-f    rw [ih v rest h.1]
-    simp only [length_append_sub, ↓reduceIte]
-l    rw [ih v rest h.1]
-    simp only [length_append_sub, ↓reduceIte]
-
-    rw [ih v rest h.1]
-    simp only [length_append_sub, ↓reduceIte]
-     rw [ih v rest h.1]
-    simp only [length_append_sub, ↓reduceIte]
-     rw [ih v rest h.1]
-    simp only [length_append_sub, ↓reduceIte]
-c    rw [ih v rest h.1]
-    simp only [length_append_sub, ↓reduceIte]
-a    rw [ih v rest h.1]
-    simp only [length_append_sub, ↓reduceIte]
-s    rw [ih v rest h.1]
-    simp only [length_append_sub, ↓reduceIte]
-e    rw [ih v rest h.1]
-    simp only [length_append_sub, ↓reduceIte]
-     rw [ih v rest h.1]
-    simp only [length_append_sub, ↓reduceIte]
-b    rw [ih v rest h.1]
-    simp only [length_append_sub, ↓reduceIte]
-y    rw [ih v rest h.1]
-    simp only [length_append_sub, ↓reduceIte]
-t    rw [ih v rest h.1]
-    simp only [length_append_sub, ↓reduceIte]
-e    rw [ih v rest h.1]
-    simp only [length_append_sub, ↓reduceIte]
-s    rw [ih v rest h.1]
-    simp only [length_append_sub, ↓reduceIte]
-.    rw [ih v rest h.1]
-    simp only [length_append_sub, ↓reduceIte]
-b    rw [ih v rest h.1]
-    simp only [length_append_sub, ↓reduceIte]
-y    rw [ih v rest h.1]
-    simp only [length_append_sub, ↓reduceIte]
-t    rw [ih v rest h.1]
-    simp only [length_append_sub, ↓reduceIte]
-e    rw [ih v rest h.1]
-    simp only [length_append_sub, ↓reduceIte]
-s    rw [ih v rest h.1]
-    simp only [length_append_sub, ↓reduceIte]
-     rw [ih v rest h.1]
-    simp only [length_append_sub, ↓reduceIte]
-b    rw [ih v rest h.1]
-    simp only [length_append_sub, ↓reduceIte]
-     rw [ih v rest h.1]
-    simp only [length_append_sub, ↓reduceIte]
-=    rw [ih v rest h.1]
-    simp only [length_append_sub, ↓reduceIte]
->    rw [ih v rest h.1]
-    simp only [length_append_sub, ↓reduceIte]
-     rw [ih v rest h.1]
-    simp only [length_append_sub, ↓reduceIte]
-r    rw [ih v rest h.1]
-    simp only [length_append_sub, ↓reduceIte]
-w    rw [ih v rest h.1]
-    simp only [length_append_sub, ↓reduceIte]
-     rw [ih v rest h.1]
-    simp only [length_append_sub, ↓reduceIte]
-[    rw [ih v rest h.1]
-    simp only [length_append_sub, ↓reduceIte]
-g    rw [ih v rest h.1]
-    simp only [length_append_sub, ↓reduceIte]
-e    rw [ih v rest h.1]
-    simp only [length_append_sub, ↓reduceIte]
-t    rw [ih v rest h.1]
-    simp only [length_append_sub, ↓reduceIte]
-B    rw [ih v rest h.1]
-    simp only [length_append_sub, ↓reduceIte]
-y    rw [ih v rest h.1]
-    simp only [length_append_sub, ↓reduceIte]
-t    rw [ih v rest h.1]
-    simp only [length_append_sub, ↓reduceIte]
-e    rw [ih v rest h.1]
-    simp only [length_append_sub, ↓reduceIte]
-s    rw [ih v rest h.1]
-    simp only [length_append_sub, ↓reduceIte]
-_    rw [ih v rest h.1]
-    simp only [length_append_sub, ↓reduceIte]
-p    rw [ih v rest h.1]
-    simp only [length_append_sub, ↓reduceIte]
-u    rw [ih v rest h.1]
-    simp only [length_append_sub, ↓reduceIte]
-t    rw [ih v rest h.1]
-    simp only [length_append_sub, ↓reduceIte]
-B    rw [ih v rest h.1]
-    simp only [length_append_sub, ↓reduceIte]
-y    rw [ih v rest h.1]
-    simp only [length_append_sub, ↓reduceIte]
-t    rw [ih v rest h.1]
-    simp only [length_append_sub, ↓reduceIte]
-e    rw [ih v rest h.1]
-    simp only [length_append_sub, ↓reduceIte]
-s    rw [ih v rest h.1]
-    simp only [length_append_sub, ↓reduceIte]
-     rw [ih v rest h.1]
-    simp only [length_append_sub, ↓reduceIte]
-(    rw [ih v rest h.1]
-    simp only [length_append_sub, ↓reduceIte]
-s    rw [ih v rest h.1]
-    simp only [length_append_sub, ↓reduceIte]
-o    rw [ih v rest h.1]
-    simp only [length_append_sub, ↓reduceIte]
-m    rw [ih v rest h.1]
-    simp only [length_append_sub, ↓reduceIte]
-e    rw [ih v rest h.1]
-    simp only [length_append_sub, ↓reduceIte]
-     rw [ih v rest h.1]
-    simp only [length_append_sub, ↓reduceIte]
-b    rw [ih v rest h.1]
-    simp only [length_append_sub, ↓reduceIte]
-)    rw [ih v rest h.1]
-    simp only [length_append_sub, ↓reduceIte]
-     rw [ih v rest h.1]
-    simp only [length_append_sub, ↓reduceIte]
-r    rw [ih v rest h.1]
-    simp only [length_append_sub, ↓reduceIte]
-e    rw [ih v rest h.1]
-    simp only [length_append_sub, ↓reduceIte]
-s    rw [ih v rest h.1]
-    simp only [length_append_sub, ↓reduceIte]
-t    rw [ih v rest h.1]
-    simp only [length_append_sub, ↓reduceIte]
-     rw [ih v rest h.1]
-    simp only [length_append_sub, ↓reduceIte]
-(    rw [ih v rest h.1]
-    simp only [length_append_sub, ↓reduceIte]
-b    rw [ih v rest h.1]
-    simp only [length_append_sub, ↓reduceIte]
-y    rw [ih v rest h.1]
-    simp only [length_append_sub, ↓reduceIte]
-     rw [ih v rest h.1]
-    simp only [length_append_sub, ↓reduceIte]
-i    rw [ih v rest h.1]
-    simp only [length_append_sub, ↓reduceIte]
-n    rw [ih v rest h.1]
-    simp only [length_append_sub, ↓reduceIte]
-t    rw [ih v rest h.1]
-    simp only [length_append_sub, ↓reduceIte]
-r    rw [ih v rest h.1]
-    simp only [length_append_sub, ↓reduceIte]
-o    rw [ih v rest h.1]
-    simp only [length_append_sub, ↓reduceIte]
-     rw [ih v rest h.1]
-    simp only [length_append_sub, ↓reduceIte]
-b    rw [ih v rest h.1]
-    simp only [length_append_sub, ↓reduceIte]
-'    rw [ih v rest h.1]
-    simp only [length_append_sub, ↓reduceIte]
-     rw [ih v rest h.1]
-    simp only [length_append_sub, ↓reduceIte]
-h    rw [ih v rest h.1]
-    simp only [length_append_sub, ↓reduceIte]
-b    rw [ih v rest h.1]
-    simp only [length_append_sub, ↓reduceIte]
-;    rw [ih v rest h.1]
-    simp only [length_append_sub, ↓reduceIte]
-     rw [ih v rest h.1]
-    simp only [length_append_sub, ↓reduceIte]
-c    rw [ih v rest h.1]
-    simp only [length_append_sub, ↓reduceIte]
-a    rw [ih v rest h.1]
-    simp only [length_append_sub, ↓reduceIte]
-s    rw [ih v rest h.1]
-    simp only [length_append_sub, ↓reduceIte]
-e    rw [ih v rest h.1]
-    simp only [length_append_sub, ↓reduceIte]
-s    rw [ih v rest h.1]
-    simp only [length_append_sub, ↓reduceIte]
-     rw [ih v rest h.1]
-    simp only [length_append_sub, ↓reduceIte]
-h    rw [ih v rest h.1]
-    simp only [length_append_sub, ↓reduceIte]
-b    rw [ih v rest h.1]
-    simp only [length_append_sub, ↓reduceIte]
-;    rw [ih v rest h.1]
-    simp only [length_append_sub, ↓reduceIte]
-     rw [ih v rest h.1]
-    simp only [length_append_sub, ↓reduceIte]
-e    rw [ih v rest h.1]
-    simp only [length_append_sub, ↓reduceIte]
-x    rw [ih v rest h.1]
-    simp only [length_append_sub, ↓reduceIte]
-a    rw [ih v rest h.1]
-    simp only [length_append_sub, ↓reduceIte]
-c    rw [ih v rest h.1]
-    simp only [length_append_sub, ↓reduceIte]
-t    rw [ih v rest h.1]
-    simp only [length_append_sub, ↓reduceIte]
-     rw [ih v rest h.1]
-    simp only [length_append_sub, ↓reduceIte]
-h    rw [ih v rest h.1]
-    simp only [length_append_sub, ↓reduceIte]
-)    rw [ih v rest h.1]
-    simp only [length_append_sub, ↓reduceIte]
-]    rw [ih v rest h.1]
-    simp only [length_append_sub, ↓reduceIte]
-;    rw [ih v rest h.1]
-    simp only [length_append_sub, ↓reduceIte]
-     rw [ih v rest h.1]
-    simp only [length_append_sub, ↓reduceIte]
-r    rw [ih v rest h.1]
-    simp only [length_append_sub, ↓reduceIte]
-f    rw [ih v rest h.1]
-    simp only [length_append_sub, ↓reduceIte]
-l    rw [ih v rest h.1]
-    simp only [length_append_sub, ↓reduceIte]
-
-    rw [ih v rest h.1]
-    simp only [length_append_sub, ↓reduceIte]
-     rw [ih v rest h.1]
-    simp only [length_append_sub, ↓reduceIte]
-     rw [ih v rest h.1]
-    simp only [length_append_sub, ↓reduceIte]
-c    rw [ih v rest h.1]
-    simp only [length_append_sub, ↓reduceIte]
-a    rw [ih v rest h.1]
-    simp only [length_append_sub, ↓reduceIte]
-s    rw [ih v rest h.1]
-    simp only [length_append_sub, ↓reduceIte]
-e    rw [ih v rest h.1]
-    simp only [length_append_sub, ↓reduceIte]
-     rw [ih v rest h.1]
-    simp only [length_append_sub, ↓reduceIte]
-b    rw [ih v rest h.1]
-    simp only [length_append_sub, ↓reduceIte]
-y    rw [ih v rest h.1]
-    simp only [length_append_sub, ↓reduceIte]
-t    rw [ih v rest h.1]
-    simp only [length_append_sub, ↓reduceIte]
-e    rw [ih v rest h.1]
-    simp only [length_append_sub, ↓reduceIte]
-s    rw [ih v rest h.1]
-    simp only [length_append_sub, ↓reduceIte]
-.    rw [ih v rest h.1]
-    simp only [length_append_sub, ↓reduceIte]
-n    rw [ih v rest h.1]
-    simp only [length_append_sub, ↓reduceIte]
-u    rw [ih v rest h.1]
-    simp only [length_append_sub, ↓reduceIte]
-l    rw [ih v rest h.1]
-    simp only [length_append_sub, ↓reduceIte]
-l    rw [ih v rest h.1]
-    simp only [length_append_sub, ↓reduceIte]
-     rw [ih v rest h.1]
-    simp only [length_append_sub, ↓reduceIte]
-=    rw [ih v rest h.1]
-    simp only [length_append_sub, ↓reduceIte]
->    rw [ih v rest h.1]
-    simp only [length_append_sub, ↓reduceIte]
-     rw [ih v rest h.1]
-    simp only [length_append_sub, ↓reduceIte]
-r    rw [ih v rest h.1]
-    simp only [length_append_sub, ↓reduceIte]
-w    rw [ih v rest h.1]
-    simp only [length_append_sub, ↓reduceIte]
-     rw [ih v rest h.1]
-    simp only [length_append_sub, ↓reduceIte]
-[    rw [ih v rest h.1]
-    simp only [length_append_sub, ↓reduceIte]
-g    rw [ih v rest h.1]
-    simp only [length_append_sub, ↓reduceIte]
-e    rw [ih v rest h.1]
-    simp only [length_append_sub, ↓reduceIte]
-t    rw [ih v rest h.1]
-    simp only [length_append_sub, ↓reduceIte]
-B    rw [ih v rest h.1]
-    simp only [length_append_sub, ↓reduceIte]
-y    rw [ih v rest h.1]
-    simp only [length_append_sub, ↓reduceIte]
-t    rw [ih v rest h.1]
-    simp only [length_append_sub, ↓reduceIte]
-e    rw [ih v rest h.1]
-    simp only [length_append_sub, ↓reduceIte]
-s    rw [ih v rest h.1]
-    simp only [length_append_sub, ↓reduceIte]
-_    rw [ih v rest h.1]
-    simp only [length_append_sub, ↓reduceIte]
-p    rw [ih v rest h.1]
-    simp only [length_append_sub, ↓reduceIte]
-u    rw [ih v rest h.1]
-    simp only [length_append_sub, ↓reduceIte]
-t    rw [ih v rest h.1]
-    simp only [length_append_sub, ↓reduceIte]
-B    rw [ih v rest h.1]
-    simp only [length_append_sub, ↓reduceIte]
-y    rw [ih v rest h.1]
-    simp only [length_append_sub, ↓reduceIte]
-t    rw [ih v rest h.1]
-    simp only [length_append_sub, ↓reduceIte]
-e    rw [ih v rest h.1]
-    simp only [length_append_sub, ↓reduceIte]
-s    rw [ih v rest h.1]
-    simp only [length_append_sub, ↓reduceIte]
-     rw [ih v rest h.1]
-    simp only [length_append_sub, ↓reduceIte]
-n    rw [ih v rest h.1]
-    simp only [length_append_sub, ↓reduceIte]
-o    rw [ih v rest h.1]
-    simp only [length_append_sub, ↓reduceIte]
-n    rw [ih v rest h.1]
-    simp only [length_append_sub, ↓reduceIte]
-e    rw [ih v rest h.1]
-    simp only [length_append_sub, ↓reduceIte]
-     rw [ih v rest h.1]
-    simp only [length_append_sub, ↓reduceIte]
-r    rw [ih v rest h.1]
-    simp only [length_append_sub, ↓reduceIte]
-e    rw [ih v rest h.1]
-    simp only [length_append_sub, ↓reduceIte]
-s    rw [ih v rest h.1]
-    simp only [length_append_sub, ↓reduceIte]
-t    rw [ih v rest h.1]
-    simp only [length_append_sub, ↓reduceIte]
-     rw [ih v rest h.1]
-    simp only [length_append_sub, ↓reduceIte]
-(    rw [ih v rest h.1]
-    simp only [length_append_sub, ↓reduceIte]
-b    rw [ih v rest h.1]
-    simp only [length_append_sub, ↓reduceIte]
-y    rw [ih v rest h.1]
-    simp only [length_append_sub, ↓reduceIte]
-     rw [ih v rest h.1]
-    simp only [length_append_sub, ↓reduceIte]
-i    rw [ih v rest h.1]
-    simp only [length_append_sub, ↓reduceIte]
-n    rw [ih v rest h.1]
-    simp only [length_append_sub, ↓reduceIte]
-t    rw [ih v rest h.1]
-    simp only [length_append_sub, ↓reduceIte]
-r    rw [ih v rest h.1]
-    simp only [length_append_sub, ↓reduceIte]
-o    rw [ih v rest h.1]
-    simp only [length_append_sub, ↓reduceIte]
-     rw [ih v rest h.1]
-    simp only [length_append_sub, ↓reduceIte]
-b    rw [ih v rest h.1]
-    simp only [length_append_sub, ↓reduceIte]
-'    rw [ih v rest h.1]
-    simp only [length_append_sub, ↓reduceIte]
-     rw [ih v rest h.1]
-    simp only [length_append_sub, ↓reduceIte]
-h    rw [ih v rest h.1]
-    simp only [length_append_sub, ↓reduceIte]
-b    rw [ih v rest h.1]
-    simp only [length_append_sub, ↓reduceIte]
-;    rw [ih v rest h.1]
-    simp only [length_append_sub, ↓reduceIte]
-     rw [ih v rest h.1]
-    simp only [length_append_sub, ↓reduceIte]
-c    rw [ih v rest h.1]
-    simp only [length_append_sub, ↓reduceIte]
-a    rw [ih v rest h.1]
-    simp only [length_append_sub, ↓reduceIte]
-s    rw [ih v rest h.1]
-    simp only [length_append_sub, ↓reduceIte]
-e    rw [ih v rest h.1]
-    simp only [length_append_sub, ↓reduceIte]
-s    rw [ih v rest h.1]
-    simp only [length_append_sub, ↓reduceIte]
-     rw [ih v rest h.1]
-    simp only [length_append_sub, ↓reduceIte]
-h    rw [ih v rest h.1]
-    simp only [length_append_sub, ↓reduceIte]
-b    rw [ih v rest h.1]
-    simp only [length_append_sub, ↓reduceIte]
-)    rw [ih v rest h.1]
-    simp only [length_append_sub, ↓reduceIte]
-]    rw [ih v rest h.1]
-    simp only [length_append_sub, ↓reduceIte]
-;    rw [ih v rest h.1]
-    simp only [length_append_sub, ↓reduceIte]
-     rw [ih v rest h.1]
-    simp only [length_append_sub, ↓reduceIte]
-r    rw [ih v rest h.1]
-    simp only [length_append_sub, ↓reduceIte]
-f    rw [ih v rest h.1]
-    simp only [length_append_sub, ↓reduceIte]
-l    rw [ih v rest h.1]
-    simp only [length_append_sub, ↓reduceIte]
-
-    rw [ih v rest h.1]
-    simp only [length_append_sub, ↓reduceIte]
-     rw [ih v rest h.1]
-    simp only [length_append_sub, ↓reduceIte]
-     rw [ih v rest h.1]
-    simp only [length_append_sub, ↓reduceIte]
-c    rw [ih v rest h.1]
-    simp only [length_append_sub, ↓reduceIte]
-a    rw [ih v rest h.1]
-    simp only [length_append_sub, ↓reduceIte]
-s    rw [ih v rest h.1]
-    simp only [length_append_sub, ↓reduceIte]
-e    rw [ih v rest h.1]
-    simp only [length_append_sub, ↓reduceIte]
-     rw [ih v rest h.1]
-    simp only [length_append_sub, ↓reduceIte]
-v    rw [ih v rest h.1]
-    simp only [length_append_sub, ↓reduceIte]
-b    rw [ih v rest h.1]
-    simp only [length_append_sub, ↓reduceIte]
-y    rw [ih v rest h.1]
-    simp only [length_append_sub, ↓reduceIte]
-t    rw [ih v rest h.1]
-    simp only [length_append_sub, ↓reduceIte]
-e    rw [ih v rest h.1]
-    simp only [length_append_sub, ↓reduceIte]
-s    rw [ih v rest h.1]
-    simp only [length_append_sub, ↓reduceIte]
-.    rw [ih v rest h.1]
-    simp only [length_append_sub, ↓reduceIte]
-b    rw [ih v rest h.1]
-    simp only [length_append_sub, ↓reduceIte]
-y    rw [ih v rest h.1]
-    simp only [length_append_sub, ↓reduceIte]
-t    rw [ih v rest h.1]
-    simp only [length_append_sub, ↓reduceIte]
-e    rw [ih v rest h.1]
-    simp only [length_append_sub, ↓reduceIte]
-s    rw [ih v rest h.1]
-    simp only [length_append_sub, ↓reduceIte]
-     rw [ih v rest h.1]
-    simp only [length_append_sub, ↓reduceIte]
-b    rw [ih v rest h.1]
-    simp only [length_append_sub, ↓reduceIte]
-     rw [ih v rest h.1]
-    simp only [length_append_sub, ↓reduceIte]
-=    rw [ih v rest h.1]
-    simp only [length_append_sub, ↓reduceIte]
->    rw [ih v rest h.1]
-    simp only [length_append_sub, ↓reduceIte]
-     rw [ih v rest h.1]
-    simp only [length_append_sub, ↓reduceIte]
-r    rw [ih v rest h.1]
-    simp only [length_append_sub, ↓reduceIte]
-w    rw [ih v rest h.1]
-    simp only [length_append_sub, ↓reduceIte]
-     rw [ih v rest h.1]
-    simp only [length_append_sub, ↓reduceIte]
-[    rw [ih v rest h.1]
-    simp only [length_append_sub, ↓reduceIte]
-g    rw [ih v rest h.1]
-    simp only [length_append_sub, ↓reduceIte]
-e    rw [ih v rest h.1]
-    simp only [length_append_sub, ↓reduceIte]
-t    rw [ih v rest h.1]
-    simp only [length_append_sub, ↓reduceIte]
-V    rw [ih v rest h.1]
-    simp only [length_append_sub, ↓reduceIte]
-a    rw [ih v rest h.1]
-    simp only [length_append_sub, ↓reduceIte]
-r    rw [ih v rest h.1]
-    simp only [length_append_sub, ↓reduceIte]
-i    rw [ih v rest h.1]
-    simp only [length_append_sub, ↓reduceIte]
-n    rw [ih v rest h.1]
-    simp only [length_append_sub, ↓reduceIte]
-t    rw [ih v rest h.1]
-    simp only [length_append_sub, ↓reduceIte]
-B    rw [ih v rest h.1]
-    simp only [length_append_sub, ↓reduceIte]
-y    rw [ih v rest h.1]
-    simp only [length_append_sub, ↓reduceIte]
-t    rw [ih v rest h.1]
-    simp only [length_append_sub, ↓reduceIte]
-e    rw [ih v rest h.1]
-    simp only [length_append_sub, ↓reduceIte]
-s    rw [ih v rest h.1]
-    simp only [length_append_sub, ↓reduceIte]
-_    rw [ih v rest h.1]
-    simp only [length_append_sub, ↓reduceIte]
-p    rw [ih v rest h.1]
-    simp only [length_append_sub, ↓reduceIte]
-u    rw [ih v rest h.1]
-    simp only [length_append_sub, ↓reduceIte]
-t    rw [ih v rest h.1]
-    simp only [length_append_sub, ↓reduceIte]
-     rw [ih v rest h.1]
-    simp only [length_append_sub, ↓reduceIte]
-(    rw [ih v rest h.1]
-    simp only [length_append_sub, ↓reduceIte]
-s    rw [ih v rest h.1]
-    simp only [length_append_sub, ↓reduceIte]
-o    rw [ih v rest h.1]
-    simp only [length_append_sub, ↓reduceIte]
-m    rw [ih v rest h.1]
-    simp only [length_append_sub, ↓reduceIte]
-e    rw [ih v rest h.1]
-    simp only [length_append_sub, ↓reduceIte]
-     rw [ih v rest h.1]
-    simp only [length_append_sub, ↓reduceIte]
-b    rw [ih v rest h.1]
-    simp only [length_append_sub, ↓reduceIte]
-)    rw [ih v rest h.1]
-    simp only [length_append_sub, ↓reduceIte]
-     rw [ih v rest h.1]
-    simp only [length_append_sub, ↓reduceIte]
-r    rw [ih v rest h.1]
-    simp only [length_append_sub, ↓reduceIte]
-e    rw [ih v rest h.1]
-    simp only [length_append_sub, ↓reduceIte]
-s    rw [ih v rest h.1]
-    simp only [length_append_sub, ↓reduceIte]
-t    rw [ih v rest h.1]
-    simp only [length_append_sub, ↓reduceIte]
-     rw [ih v rest h.1]
-    simp only [length_append_sub, ↓reduceIte]
-(    rw [ih v rest h.1]
-    simp only [length_append_sub, ↓reduceIte]
-b    rw [ih v rest h.1]
-    simp only [length_append_sub, ↓reduceIte]
-y    rw [ih v rest h.1]
-    simp only [length_append_sub, ↓reduceIte]
-     rw [ih v rest h.1]
-    simp only [length_append_sub, ↓reduceIte]
-i    rw [ih v rest h.1]
-    simp only [length_append_sub, ↓reduceIte]
-n    rw [ih v rest h.1]
-    simp only [length_append_sub, ↓reduceIte]
-t    rw [ih v rest h.1]
-    simp only [length_append_sub, ↓reduceIte]
-r    rw [ih v rest h.1]
-    simp only [length_append_sub, ↓reduceIte]
-o    rw [ih v rest h.1]
-    simp only [length_append_sub, ↓reduceIte]
-     rw [ih v rest h.1]
-    simp only [length_append_sub, ↓reduceIte]
-b    rw [ih v rest h.1]
-    simp only [length_append_sub, ↓reduceIte]
-'    rw [ih v rest h.1]
-    simp only [length_append_sub, ↓reduceIte]
-     rw [ih v rest h.1]
-    simp only [length_append_sub, ↓reduceIte]
-h    rw [ih v rest h.1]
-    simp only [length_append_sub, ↓reduceIte]
-b    rw [ih v rest h.1]
-    simp only [length_append_sub, ↓reduceIte]
-;    rw [ih v rest h.1]
-    simp only [length_append_sub, ↓reduceIte]
-     rw [ih v rest h.1]
-    simp only [length_append_sub, ↓reduceIte]
-c    rw [ih v rest h.1]
-    simp only [length_append_sub, ↓reduceIte]
-a    rw [ih v rest h.1]
-    simp only [length_append_sub, ↓reduceIte]
-s    rw [ih v rest h.1]
-    simp only [length_append_sub, ↓reduceIte]
-e    rw [ih v rest h.1]
-    simp only [length_append_sub, ↓reduceIte]
-s    rw [ih v rest h.1]
-    simp only [length_append_sub, ↓reduceIte]
-     rw [ih v rest h.1]
-    simp only [length_append_sub, ↓reduceIte]
-h    rw [ih v rest h.1]
-    simp only [length_append_sub, ↓reduceIte]
-b    rw [ih v rest h.1]
-    simp only [length_append_sub, ↓reduceIte]
-;    rw [ih v rest h.1]
-    simp only [length_append_sub, ↓reduceIte]
-     rw [ih v rest h.1]
-    simp only [length_append_sub, ↓reduceIte]
-e    rw [ih v rest h.1]
-    simp only [length_append_sub, ↓reduceIte]
-x    rw [ih v rest h.1]
-    simp only [length_append_sub, ↓reduceIte]
-a    rw [ih v rest h.1]
-    simp only [length_append_sub, ↓reduceIte]
-c    rw [ih v rest h.1]
-    simp only [length_append_sub, ↓reduceIte]
-t    rw [ih v rest h.1]
-    simp only [length_append_sub, ↓reduceIte]
-     rw [ih v rest h.1]
-    simp only [length_append_sub, ↓reduceIte]
-h    rw [ih v rest h.1]
-    simp only [length_append_sub, ↓reduceIte]
-)    rw [ih v rest h.1]
-    simp only [length_append_sub, ↓reduceIte]
-]    rw [ih v rest h.1]
-    simp only [length_append_sub, ↓reduceIte]
-;    rw [ih v rest h.1]
-    simp only [length_append_sub, ↓reduceIte]
-     rw [ih v rest h.1]
-    simp only [length_append_sub, ↓reduceIte]
-r    rw [ih v rest h.1]
-    simp only [length_append_sub, ↓reduceIte]
-f    rw [ih v rest h.1]
-    simp only [length_append_sub, ↓reduceIte]
-l    rw [ih v rest h.1]
-    simp only [length_append_sub, ↓reduceIte]
-
-    rw [ih v rest h.1]
-    simp only [length_append_sub, ↓reduceIte]
-     rw [ih v rest h.1]
-    simp only [length_append_sub, ↓reduceIte]
-     rw [ih v rest h.1]
-    simp only [length_append_sub, ↓reduceIte]
-c    rw [ih v rest h.1]
-    simp only [length_append_sub, ↓reduceIte]
-a    rw [ih v rest h.1]
-    simp only [length_append_sub, ↓reduceIte]
-s    rw [ih v rest h.1]
-    simp only [length_append_sub, ↓reduceIte]
-e    rw [ih v rest h.1]
-    simp only [length_append_sub, ↓reduceIte]
-     rw [ih v rest h.1]
-    simp only [length_append_sub, ↓reduceIte]
-v    rw [ih v rest h.1]
-    simp only [length_append_sub, ↓reduceIte]
-b    rw [ih v rest h.1]
-    simp only [length_append_sub, ↓reduceIte]
-y    rw [ih v rest h.1]
-    simp only [length_append_sub, ↓reduceIte]
-t    rw [ih v rest h.1]
-    simp only [length_append_sub, ↓reduceIte]
-e    rw [ih v rest h.1]
-    simp only [length_append_sub, ↓reduceIte]
-s    rw [ih v rest h.1]
-    simp only [length_append_sub, ↓reduceIte]
-.    rw [ih v rest h.1]
-    simp only [length_append_sub, ↓reduceIte]
-n    rw [ih v rest h.1]
-    simp only [length_append_sub, ↓reduceIte]
-u    rw [ih v rest h.1]
-    simp only [length_append_sub, ↓reduceIte]
-l    rw [ih v rest h.1]
-    simp only [length_append_sub, ↓reduceIte]
-l    rw [ih v rest h.1]
-    simp only [length_append_sub, ↓reduceIte]
-     rw [ih v rest h.1]
-    simp only [length_append_sub, ↓reduceIte]
-=    rw [ih v rest h.1]
-    simp only [length_append_sub, ↓reduceIte]
->    rw [ih v rest h.1]
-    simp only [length_append_sub, ↓reduceIte]
-     rw [ih v rest h.1]
-    simp only [length_append_sub, ↓reduceIte]
-r    rw [ih v rest h.1]
-    simp only [length_append_sub, ↓reduceIte]
-w    rw [ih v rest h.1]
-    simp only [length_append_sub, ↓reduceIte]
-     rw [ih v rest h.1]
-    simp only [length_append_sub, ↓reduceIte]
-[    rw [ih v rest h.1]
-    simp only [length_append_sub, ↓reduceIte]
-g    rw [ih v rest h.1]
-    simp only [length_append_sub, ↓reduceIte]
-e    rw [ih v rest h.1]
-    simp only [length_append_sub, ↓reduceIte]
-t    rw [ih v rest h.1]
-    simp only [length_append_sub, ↓reduceIte]
-V    rw [ih v rest h.1]
-    simp only [length_append_sub, ↓reduceIte]
-a    rw [ih v rest h.1]
-    simp only [length_append_sub, ↓reduceIte]
-r    rw [ih v rest h.1]
-    simp only [length_append_sub, ↓reduceIte]
-i    rw [ih v rest h.1]
-    simp only [length_append_sub, ↓reduceIte]
-n    rw [ih v rest h.1]
-    simp only [length_append_sub, ↓reduceIte]
-t    rw [ih v rest h.1]
-    simp only [length_append_sub, ↓reduceIte]
-B    rw [ih v rest h.1]
-    simp only [length_append_sub, ↓reduceIte]
-y    rw [ih v rest h.1]
-    simp only [length_append_sub, ↓reduceIte]
-t    rw [ih v rest h.1]
-    simp only [length_append_sub, ↓reduceIte]
-e    rw [ih v rest h.1]
-    simp only [length_append_sub, ↓reduceIte]
-s    rw [ih v rest h.1]
-    simp only [length_append_sub, ↓reduceIte]
-_    rw [ih v rest h.1]
-    simp only [length_append_sub, ↓reduceIte]
-p    rw [ih v rest h.1]
-    simp only [length_append_sub, ↓reduceIte]
-u    rw [ih v rest h.1]
-    simp only [length_append_sub, ↓reduceIte]
-t    rw [ih v rest h.1]
-    simp only [length_append_sub, ↓reduceIte]
-     rw [ih v rest h.1]
-    simp only [length_append_sub, ↓reduceIte]
-n    rw [ih v rest h.1]
-    simp only [length_append_sub, ↓reduceIte]
-o    rw [ih v rest h.1]
-    simp only [length_append_sub, ↓reduceIte]
-n    rw [ih v rest h.1]
-    simp only [length_append_sub, ↓reduceIte]
-e    rw [ih v rest h.1]
-    simp only [length_append_sub, ↓reduceIte]
-     rw [ih v rest h.1]
-    simp only [length_append_sub, ↓reduceIte]
-r    rw [ih v rest h.1]
-    simp only [length_append_sub, ↓reduceIte]
-e    rw [ih v rest h.1]
-    simp only [length_append_sub, ↓reduceIte]
-s    rw [ih v rest h.1]
-    simp only [length_append_sub, ↓reduceIte]
-t    rw [ih v rest h.1]
-    simp only [length_append_sub, ↓reduceIte]
-     rw [ih v rest h.1]
-    simp only [length_append_sub, ↓reduceIte]
-(    rw [ih v rest h.1]
-    simp only [length_append_sub, ↓reduceIte]
-b    rw [ih v rest h.1]
-    simp only [length_append_sub, ↓reduceIte]
-y    rw [ih v rest h.1]
-    simp only [length_append_sub, ↓reduceIte]
-     rw [ih v rest h.1]
-    simp only [length_append_sub, ↓reduceIte]
-i    rw [ih v rest h.1]
-    simp only [length_append_sub, ↓reduceIte]
-n    rw [ih v rest h.1]
-    simp only [length_append_sub, ↓reduceIte]
-t    rw [ih v rest h.1]
-    simp only [length_append_sub, ↓reduceIte]
-r    rw [ih v rest h.1]
-    simp only [length_append_sub, ↓reduceIte]
-o    rw [ih v rest h.1]
-    simp only [length_append_sub, ↓reduceIte]
-     rw [ih v rest h.1]
-    simp only [length_append_sub, ↓reduceIte]
-b    rw [ih v rest h.1]
-    simp only [length_append_sub, ↓reduceIte]
-'    rw [ih v rest h.1]
-    simp only [length_append_sub, ↓reduceIte]
-     rw [ih v rest h.1]
-    simp only [length_append_sub, ↓reduceIte]
-h    rw [ih v rest h.1]
-    simp only [length_append_sub, ↓reduceIte]
-b    rw [ih v rest h.1]
-    simp only [length_append_sub, ↓reduceIte]
-;    rw [ih v rest h.1]
-    simp only [length_append_sub, ↓reduceIte]
-     rw [ih v rest h.1]
-    simp only [length_append_sub, ↓reduceIte]
-c    rw [ih v rest h.1]
-    simp only [length_append_sub, ↓reduceIte]
-a    rw [ih v rest h.1]
-    simp only [length_append_sub, ↓reduceIte]
-s    rw [ih v rest h.1]
-    simp only [length_append_sub, ↓reduceIte]
-e    rw [ih v rest h.1]
-    simp only [length_append_sub, ↓reduceIte]
-s    rw [ih v rest h.1]
-    simp only [length_append_sub, ↓reduceIte]
-     rw [ih v rest h.1]
-    simp only [length_append_sub, ↓reduceIte]
-h    rw [ih v rest h.1]
-    simp only [length_append_sub, ↓reduceIte]
-b    rw [ih v rest h.1]
-    simp only [length_append_sub, ↓reduceIte]
-)    rw [ih v rest h.1]
-    simp only [length_append_sub, ↓reduceIte]
-]    rw [ih v rest h.1]
-    simp only [length_append_sub, ↓reduceIte]
-;    rw [ih v rest h.1]
-    simp only [length_append_sub, ↓reduceIte]
-     rw [ih v rest h.1]
-    simp only [length_append_sub, ↓reduceIte]
-r    rw [ih v rest h.1]
-    simp only [length_append_sub, ↓reduceIte]
-f    rw [ih v rest h.1]
-    simp only [length_append_sub, ↓reduceIte]
-l    rw [ih v rest h.1]
-    simp only [length_append_sub, ↓reduceIte]
-
-    rw [ih v rest h.1]
-    simp only [length_append_sub, ↓reduceIte]
-     rw [ih v rest h.1]
-    simp only [length_append_sub, ↓reduceIte]
-     rw [ih v rest h.1]
-    simp only [length_append_sub, ↓reduceIte]
-c    rw [ih v rest h.1]
-    simp only [length_append_sub, ↓reduceIte]
-a    rw [ih v rest h.1]
-    simp only [length_append_sub, ↓reduceIte]
-s    rw [ih v rest h.1]
-    simp only [length_append_sub, ↓reduceIte]
-e    rw [ih v rest h.1]
-    simp only [length_append_sub, ↓reduceIte]
-     rw [ih v rest h.1]
-    simp only [length_append_sub, ↓reduceIte]
-c    rw [ih v rest h.1]
-    simp only [length_append_sub, ↓reduceIte]
-b    rw [ih v rest h.1]
-    simp only [length_append_sub, ↓reduceIte]
-y    rw [ih v rest h.1]
-    simp only [length_append_sub, ↓reduceIte]
-t    rw [ih v rest h.1]
-    simp only [length_append_sub, ↓reduceIte]
-e    rw [ih v rest h.1]
-    simp only [length_append_sub, ↓reduceIte]
-s    rw [ih v rest h.1]
-    simp only [length_append_sub, ↓reduceIte]
-.    rw [ih v rest h.1]
-    simp only [length_append_sub, ↓reduceIte]
-b    rw [ih v rest h.1]
-    simp only [length_append_sub, ↓reduceIte]
-y    rw [ih v rest h.1]
-    simp only [length_append_sub, ↓reduceIte]
-t    rw [ih v rest h.1]
-    simp only [length_append_sub, ↓reduceIte]
-e    rw [ih v rest h.1]
-    simp only [length_append_sub, ↓reduceIte]
-s    rw [ih v rest h.1]
-    simp only [length_append_sub, ↓reduceIte]
-     rw [ih v rest h.1]
-    simp only [length_append_sub, ↓reduceIte]
-b    rw [ih v rest h.1]
-    simp only [length_append_sub, ↓reduceIte]
-     rw [ih v rest h.1]
-    simp only [length_append_sub, ↓reduceIte]
-=    rw [ih v rest h.1]
-    simp only [length_append_sub, ↓reduceIte]
->    rw [ih v rest h.1]
-    simp only [length_append_sub, ↓reduceIte]
-     rw [ih v rest h.1]
-    simp only [length_append_sub, ↓reduceIte]
-r    rw [ih v rest h.1]
-    simp only [length_append_sub, ↓reduceIte]
-w    rw [ih v rest h.1]
-    simp only [length_append_sub, ↓reduceIte]
-     rw [ih v rest h.1]
-    simp only [length_append_sub, ↓reduceIte]
-[    rw [ih v rest h.1]
-    simp only [length_append_sub, ↓reduceIte]
-g    rw [ih v rest h.1]
-    simp only [length_append_sub, ↓reduceIte]
-e    rw [ih v rest h.1]
-    simp only [length_append_sub, ↓reduceIte]
-t    rw [ih v rest h.1]
-    simp only [length_append_sub, ↓reduceIte]
-C    rw [ih v rest h.1]
-    simp only [length_append_sub, ↓reduceIte]
-o    rw [ih v rest h.1]
-    simp only [length_append_sub, ↓reduceIte]
-m    rw [ih v rest h.1]
-    simp only [length_append_sub, ↓reduceIte]
-p    rw [ih v rest h.1]
-    simp only [length_append_sub, ↓reduceIte]
-a    rw [ih v rest h.1]
-    simp only [length_append_sub, ↓reduceIte]
-c    rw [ih v rest h.1]
-    simp only [length_append_sub, ↓reduceIte]
-t    rw [ih v rest h.1]
-    simp only [length_append_sub, ↓reduceIte]
-B    rw [ih v rest h.1]
-    simp only [length_append_sub, ↓reduceIte]
-y    rw [ih v rest h.1]
-    simp only [length_append_sub, ↓reduceIte]
-t    rw [ih v rest h.1]
-    simp only [length_append_sub, ↓reduceIte]
-e    rw [ih v rest h.1]
-    simp only [length_append_sub, ↓reduceIte]
-s    rw [ih v rest h.1]
-    simp only [length_append_sub, ↓reduceIte]
-_    rw [ih v rest h.1]
-    simp only [length_append_sub, ↓reduceIte]
-p    rw [ih v rest h.1]
-    simp only [length_append_sub, ↓reduceIte]
-u    rw [ih v rest h.1]
-    simp only [length_append_sub, ↓reduceIte]
-t    rw [ih v rest h.1]
-    simp only [length_append_sub, ↓reduceIte]
-     rw [ih v rest h.1]
-    simp only [length_append_sub, ↓reduceIte]
-b    rw [ih v rest h.1]
-    simp only [length_append_sub, ↓reduceIte]
-     rw [ih v rest h.1]
-    simp only [length_append_sub, ↓reduceIte]
-r    rw [ih v rest h.1]
-    simp only [length_append_sub, ↓reduceIte]
-e    rw [ih v rest h.1]
-    simp only [length_append_sub, ↓reduceIte]
-s    rw [ih v rest h.1]
-    simp only [length_append_sub, ↓reduceIte]
-t    rw [ih v rest h.1]
-    simp only [length_append_sub, ↓reduceIte]
-     rw [ih v rest h.1]
-    simp only [length_append_sub, ↓reduceIte]
-h    rw [ih v rest h.1]
-    simp only [length_append_sub, ↓reduceIte]
-]    rw [ih v rest h.1]
-    simp only [length_append_sub, ↓reduceIte]
-;    rw [ih v rest h.1]
-    simp only [length_append_sub, ↓reduceIte]
-     rw [ih v rest h.1]
-    simp only [length_append_sub, ↓reduceIte]
-r    rw [ih v rest h.1]
-    simp only [length_append_sub, ↓reduceIte]
-f    rw [ih v rest h.1]
-    simp only [length_append_sub, ↓reduceIte]
-l    rw [ih v rest h.1]
-    simp only [length_append_sub, ↓reduceIte]
-
-    rw [ih v rest h.1]
-    simp only [length_append_sub, ↓reduceIte]
-     rw [ih v rest h.1]
-    simp only [length_append_sub, ↓reduceIte]
-     rw [ih v rest h.1]
-    simp only [length_append_sub, ↓reduceIte]
-c    rw [ih v rest h.1]
-    simp only [length_append_sub, ↓reduceIte]
-a    rw [ih v rest h.1]
-    simp only [length_append_sub, ↓reduceIte]
-s    rw [ih v rest h.1]
-    simp only [length_append_sub, ↓reduceIte]
-e    rw [ih v rest h.1]
-    simp only [length_append_sub, ↓reduceIte]
-     rw [ih v rest h.1]
-    simp only [length_append_sub, ↓reduceIte]
-s    rw [ih v rest h.1]
-    simp only [length_append_sub, ↓reduceIte]
-t    rw [ih v rest h.1]
-    simp only [length_append_sub, ↓reduceIte]
-r    rw [ih v rest h.1]
-    simp only [length_append_sub, ↓reduceIte]
-.    rw [ih v rest h.1]
-    simp only [length_append_sub, ↓reduceIte]
-b    rw [ih v rest h.1]
-    simp only [length_append_sub, ↓reduceIte]
-y    rw [ih v rest h.1]
-    simp only [length_append_sub, ↓reduceIte]
-t    rw [ih v rest h.1]
-    simp only [length_append_sub, ↓reduceIte]
-e    rw [ih v rest h.1]
-    simp only [length_append_sub, ↓reduceIte]
-s    rw [ih v rest h.1]
-    simp only [length_append_sub, ↓reduceIte]
-     rw [ih v rest h.1]
-    simp only [length_append_sub, ↓reduceIte]
-s    rw [ih v rest h.1]
-    simp only [length_append_sub, ↓reduceIte]
-     rw [ih v rest h.1]
-    simp only [length_append_sub, ↓reduceIte]
-=    rw [ih v rest h.1]
-    simp only [length_append_sub, ↓reduceIte]
->    rw [ih v rest h.1]
-    simp only [length_append_sub, ↓reduceIte]
-     rw [ih v rest h.1]
-    simp only [length_append_sub, ↓reduceIte]
-r    rw [ih v rest h.1]
-    simp only [length_append_sub, ↓reduceIte]
-w    rw [ih v rest h.1]
-    simp only [length_append_sub, ↓reduceIte]
-     rw [ih v rest h.1]
-    simp only [length_append_sub, ↓reduceIte]
-[    rw [ih v rest h.1]
-    simp only [length_append_sub, ↓reduceIte]
-g    rw [ih v rest h.1]
-    simp only [length_append_sub, ↓reduceIte]
-e    rw [ih v rest h.1]
-    simp only [length_append_sub, ↓reduceIte]
-t    rw [ih v rest h.1]
-    simp only [length_append_sub, ↓reduceIte]
-S    rw [ih v rest h.1]
-    simp only [length_append_sub, ↓reduceIte]
-t    rw [ih v rest h.1]
-    simp only [length_append_sub, ↓reduceIte]
-r    rw [ih v rest h.1]
-    simp only [length_append_sub, ↓reduceIte]
-i    rw [ih v rest h.1]
-    simp only [length_append_sub, ↓reduceIte]
-n    rw [ih v rest h.1]
-    simp only [length_append_sub, ↓reduceIte]
-g    rw [ih v rest h.1]
-    simp only [length_append_sub, ↓reduceIte]
-_    rw [ih v rest h.1]
-    simp only [length_append_sub, ↓reduceIte]
-p    rw [ih v rest h.1]
-    simp only [length_append_sub, ↓reduceIte]
-u    rw [ih v rest h.1]
-    simp only [length_append_sub, ↓reduceIte]
-t    rw [ih v rest h.1]
-    simp only [length_append_sub, ↓reduceIte]
-S    rw [ih v rest h.1]
-    simp only [length_append_sub, ↓reduceIte]
-t    rw [ih v rest h.1]
-    simp only [length_append_sub, ↓reduceIte]
-r    rw [ih v rest h.1]
-    simp only [length_append_sub, ↓reduceIte]
-i    rw [ih v rest h.1]
-    simp only [length_append_sub, ↓reduceIte]
-n    rw [ih v rest h.1]
-    simp only [length_append_sub, ↓reduceIte]
-g    rw [ih v rest h.1]
-    simp only [length_append_sub, ↓reduceIte]
-     rw [ih v rest h.1]
-    simp only [length_append_sub, ↓reduceIte]
-s    rw [ih v rest h.1]
-    simp only [length_append_sub, ↓reduceIte]
-     rw [ih v rest h.1]
-    simp only [length_append_sub, ↓reduceIte]
-r    rw [ih v rest h.1]
-    simp only [length_append_sub, ↓reduceIte]
-e    rw [ih v rest h.1]
-    simp only [length_append_sub, ↓reduceIte]
-s    rw [ih v rest h.1]
-    simp only [length_append_sub, ↓reduceIte]
-t    rw [ih v rest h.1]
-    simp only [length_append_sub, ↓reduceIte]
-     rw [ih v rest h.1]
-    simp only [length_append_sub, ↓reduceIte]
-h    rw [ih v rest h.1]
-    simp only [length_append_sub, ↓reduceIte]
-]    rw [ih v rest h.1]
-    simp only [length_append_sub, ↓reduceIte]
-;    rw [ih v rest h.1]
-    simp only [length_append_sub, ↓reduceIte]
-     rw [ih v rest h.1]
-    simp only [length_append_sub, ↓reduceIte]
-r    rw [ih v rest h.1]
-    simp only [length_append_sub, ↓reduceIte]
-f    rw [ih v rest h.1]
-    simp only [length_append_sub, ↓reduceIte]
-l    rw [ih v rest h.1]
-    simp only [length_append_sub, ↓reduceIte]
-
-    rw [ih v rest h.1]
-    simp only [length_append_sub, ↓reduceIte]
-     rw [ih v rest h.1]
-    simp only [length_append_sub, ↓reduceIte]
-     rw [ih v rest h.1]
-    simp only [length_append_sub, ↓reduceIte]
-c    rw [ih v rest h.1]
-    simp only [length_append_sub, ↓reduceIte]
-a    rw [ih v rest h.1]
-    simp only [length_append_sub, ↓reduceIte]
-s    rw [ih v rest h.1]
-    simp only [length_append_sub, ↓reduceIte]
-e    rw [ih v rest h.1]
-    simp only [length_append_sub, ↓reduceIte]
-     rw [ih v rest h.1]
-    simp only [length_append_sub, ↓reduceIte]
-n    rw [ih v rest h.1]
-    simp only [length_append_sub, ↓reduceIte]
-s    rw [ih v rest h.1]
-    simp only [length_append_sub, ↓reduceIte]
-t    rw [ih v rest h.1]
-    simp only [length_append_sub, ↓reduceIte]
-r    rw [ih v rest h.1]
-    simp only [length_append_sub, ↓reduceIte]
-.    rw [ih v rest h.1]
-    simp only [length_append_sub, ↓reduceIte]
-b    rw [ih v rest h.1]
-    simp only [length_append_sub, ↓reduceIte]
-y    rw [ih v rest h.1]
-    simp only [length_append_sub, ↓reduceIte]
-t    rw [ih v rest h.1]
-    simp only [length_append_sub, ↓reduceIte]
-e    rw [ih v rest h.1]
-    simp only [length_append_sub, ↓reduceIte]
-s    rw [ih v rest h.1]
-    simp only [length_append_sub, ↓reduceIte]
-     rw [ih v rest h.1]
-    simp only [length_append_sub, ↓reduceIte]
-s    rw [ih v rest h.1]
-    simp only [length_append_sub, ↓reduceIte]
-     rw [ih v rest h.1]
-    simp only [length_append_sub, ↓reduceIte]
-=    rw [ih v rest h.1]
-    simp only [length_append_sub, ↓reduceIte]
->    rw [ih v rest h.1]
-    simp only [length_append_sub, ↓reduceIte]
-     rw [ih v rest h.1]
-    simp only [length_append_sub, ↓reduceIte]
-r    rw [ih v rest h.1]
-    simp only [length_append_sub, ↓reduceIte]
-w    rw [ih v rest h.1]
-    simp only [length_append_sub, ↓reduceIte]
-     rw [ih v rest h.1]
-    simp only [length_append_sub, ↓reduceIte]
-[    rw [ih v rest h.1]
-    simp only [length_append_sub, ↓reduceIte]
-g    rw [ih v rest h.1]
-    simp only [length_append_sub, ↓reduceIte]
-e    rw [ih v rest h.1]
-    simp only [length_append_sub, ↓reduceIte]
-t    rw [ih v rest h.1]
-    simp only [length_append_sub, ↓reduceIte]
-N    rw [ih v rest h.1]
-    simp only [length_append_sub, ↓reduceIte]
-u    rw [ih v rest h.1]
-    simp only [length_append_sub, ↓reduceIte]
-l    rw [ih v rest h.1]
-    simp only [length_append_sub, ↓reduceIte]
-l    rw [ih v rest h.1]
-    simp only [length_append_sub, ↓reduceIte]
-a    rw [ih v rest h.1]
-    simp only [length_append_sub, ↓reduceIte]
-b    rw [ih v rest h.1]
-    simp only [length_append_sub, ↓reduceIte]
-l    rw [ih v rest h.1]
-    simp only [length_append_sub, ↓reduceIte]
-e    rw [ih v rest h.1]
-    simp only [length_append_sub, ↓reduceIte]
-S    rw [ih v rest h.1]
-    simp only [length_append_sub, ↓reduceIte]
-t    rw [ih v rest h.1]
-    simp only [length_append_sub, ↓reduceIte]
-r    rw [ih v rest h.1]
-    simp only [length_append_sub, ↓reduceIte]
-i    rw [ih v rest h.1]
-    simp only [length_append_sub, ↓reduceIte]
-n    rw [ih v rest h.1]
-    simp only [length_append_sub, ↓reduceIte]
-g    rw [ih v rest h.1]
-    simp only [length_append_sub, ↓reduceIte]
-_    rw [ih v rest h.1]
-    simp only [length_append_sub, ↓reduceIte]
-p    rw [ih v rest h.1]
-    simp only [length_append_sub, ↓reduceIte]
-u    rw [ih v rest h.1]
-    simp only [length_append_sub, ↓reduceIte]
-t    rw [ih v rest h.1]
-    simp only [length_append_sub, ↓reduceIte]
-     rw [ih v rest h.1]
-    simp only [length_append_sub, ↓reduceIte]
-(    rw [ih v rest h.1]
-    simp only [length_append_sub, ↓reduceIte]
-s    rw [ih v rest h.1]
-    simp only [length_append_sub, ↓reduceIte]
-o    rw [ih v rest h.1]
-    simp only [length_append_sub, ↓reduceIte]
-m    rw [ih v rest h.1]
-    simp only [length_append_sub, ↓reduceIte]
-e    rw [ih v rest h.1]
-    simp only [length_append_sub, ↓reduceIte]
-     rw [ih v rest h.1]
-    simp only [length_append_sub, ↓reduceIte]
-s    rw [ih v rest h.1]
-    simp only [length_append_sub, ↓reduceIte]
-)    rw [ih v rest h.1]
-    simp only [length_append_sub, ↓reduceIte]
-     rw [ih v rest h.1]
-    simp only [length_append_sub, ↓reduceIte]
-r    rw [ih v rest h.1]
-    simp only [length_append_sub, ↓reduceIte]
-e    rw [ih v rest h.1]
-    simp only [length_append_sub, ↓reduceIte]
-s    rw [ih v rest h.1]
-    simp only [length_append_sub, ↓reduceIte]
-t    rw [ih v rest h.1]
-    simp only [length_append_sub, ↓reduceIte]
-     rw [ih v rest h.1]
-    simp only [length_append_sub, ↓reduceIte]
-(    rw [ih v rest h.1]
-    simp only [length_append_sub, ↓reduceIte]
-b    rw [ih v rest h.1]
-    simp only [length_append_sub, ↓reduceIte]
-y    rw [ih v rest h.1]
-    simp only [length_append_sub, ↓reduceIte]
-     rw [ih v rest h.1]
-    simp only [length_append_sub, ↓reduceIte]
-i    rw [ih v rest h.1]
-    simp only [length_append_sub, ↓reduceIte]
-n    rw [ih v rest h.1]
-    simp only [length_append_sub, ↓reduceIte]
-t    rw [ih v rest h.1]
-    simp only [length_append_sub, ↓reduceIte]
-r    rw [ih v rest h.1]
-    simp only [length_append_sub, ↓reduceIte]
-o    rw [ih v rest h.1]
-    simp only [length_append_sub, ↓reduceIte]
-     rw [ih v rest h.1]
-    simp only [length_append_sub, ↓reduceIte]
-b    rw [ih v rest h.1]
-    simp only [length_append_sub, ↓reduceIte]
-'    rw [ih v rest h.1]
-    simp only [length_append_sub, ↓reduceIte]
-     rw [ih v rest h.1]
-    simp only [length_append_sub, ↓reduceIte]
-h    rw [ih v rest h.1]
-    simp only [length_append_sub, ↓reduceIte]
-b    rw [ih v rest h.1]
-    simp only [length_append_sub, ↓reduceIte]
-;    rw [ih v rest h.1]
-    simp only [length_append_sub, ↓reduceIte]
-     rw [ih v rest h.1]
-    simp only [length_append_sub, ↓reduceIte]
-c    rw [ih v rest h.1]
-    simp only [length_append_sub, ↓reduceIte]
-a    rw [ih v rest h.1]
-    simp only [length_append_sub, ↓reduceIte]
-s    rw [ih v rest h.1]
-    simp only [length_append_sub, ↓reduceIte]
-e    rw [ih v rest h.1]
-    simp only [length_append_sub, ↓reduceIte]
-s    rw [ih v rest h.1]
-    simp only [length_append_sub, ↓reduceIte]
-     rw [ih v rest h.1]
-    simp only [length_append_sub, ↓reduceIte]
-h    rw [ih v rest h.1]
-    simp only [length_append_sub, ↓reduceIte]
-b    rw [ih v rest h.1]
-    simp only [length_append_sub, ↓reduceIte]
-;    rw [ih v rest h.1]
-    simp only [length_append_sub, ↓reduceIte]
-     rw [ih v rest h.1]
-    simp only [length_append_sub, ↓reduceIte]
-e    rw [ih v rest h.1]
-    simp only [length_append_sub, ↓reduceIte]
-x    rw [ih v rest h.1]
-    simp only [length_append_sub, ↓reduceIte]
-a    rw [ih v rest h.1]
-    simp only [length_append_sub, ↓reduceIte]
-c    rw [ih v rest h.1]
-    simp only [length_append_sub, ↓reduceIte]
-t    rw [ih v rest h.1]
-    simp only [length_append_sub, ↓reduceIte]
-     rw [ih v rest h.1]
-    simp only [length_append_sub, ↓reduceIte]
-h    rw [ih v rest h.1]
-    simp only [length_append_sub, ↓reduceIte]
-)    rw [ih v rest h.1]
-    simp only [length_append_sub, ↓reduceIte]
-]    rw [ih v rest h.1]
-    simp only [length_append_sub, ↓reduceIte]
-;    rw [ih v rest h.1]
-    simp only [length_append_sub, ↓reduceIte]
-     rw [ih v rest h.1]
-    simp only [length_append_sub, ↓reduceIte]
-r    rw [ih v rest h.1]
-    simp only [length_append_sub, ↓reduceIte]
-f    rw [ih v rest h.1]
-    simp only [length_append_sub, ↓reduceIte]
-l    rw [ih v rest h.1]
-    simp only [length_append_sub, ↓reduceIte]
-
-    rw [ih v rest h.1]
-    simp only [length_append_sub, ↓reduceIte]
-     rw [ih v rest h.1]
-    simp only [length_append_sub, ↓reduceIte]
-     rw [ih v rest h.1]
-    simp only [length_append_sub, ↓reduceIte]
-c    rw [ih v rest h.1]
-    simp only [length_append_sub, ↓reduceIte]
-a    rw [ih v rest h.1]
-    simp only [length_append_sub, ↓reduceIte]
-s    rw [ih v rest h.1]
-    simp only [length_append_sub, ↓reduceIte]
-e    rw [ih v rest h.1]
-    simp only [length_append_sub, ↓reduceIte]
-     rw [ih v rest h.1]
-    simp only [length_append_sub, ↓reduceIte]
-n    rw [ih v rest h.1]
-    simp only [length_append_sub, ↓reduceIte]
-s    rw [ih v rest h.1]
-    simp only [length_append_sub, ↓reduceIte]
-t    rw [ih v rest h.1]
-    simp only [length_append_sub, ↓reduceIte]
-r    rw [ih v rest h.1]
-    simp only [length_append_sub, ↓reduceIte]
-.    rw [ih v rest h.1]
-    simp only [length_append_sub, ↓reduceIte]
-n    rw [ih v rest h.1]
-    simp only [length_append_sub, ↓reduceIte]
-u    rw [ih v rest h.1]
-    simp only [length_append_sub, ↓reduceIte]
-l    rw [ih v rest h.1]
-    simp only [length_append_sub, ↓reduceIte]
-l    rw [ih v rest h.1]
-    simp only [length_append_sub, ↓reduceIte]
-     rw [ih v rest h.1]
-    simp only [length_append_sub, ↓reduceIte]
-=    rw [ih v rest h.1]
-    simp only [length_append_sub, ↓reduceIte]
->    rw [ih v rest h.1]
-    simp only [length_append_sub, ↓reduceIte]
-     rw [ih v rest h.1]
-    simp only [length_append_sub, ↓reduceIte]
-r    rw [ih v rest h.1]
-    simp only [length_append_sub, ↓reduceIte]
-w    rw [ih v rest h.1]
-    simp only [length_append_sub, ↓reduceIte]
-     rw [ih v rest h.1]
-    simp only [length_append_sub, ↓reduceIte]
-[    rw [ih v rest h.1]
-    simp only [length_append_sub, ↓reduceIte]
-g    rw [ih v rest h.1]
-    simp only [length_append_sub, ↓reduceIte]
-e    rw [ih v rest h.1]
-    simp only [length_append_sub, ↓reduceIte]
-t    rw [ih v rest h.1]
-    simp only [length_append_sub, ↓reduceIte]
-N    rw [ih v rest h.1]
-    simp only [length_append_sub, ↓reduceIte]
-u    rw [ih v rest h.1]
-    simp only [length_append_sub, ↓reduceIte]
-l    rw [ih v rest h.1]
-    simp only [length_append_sub, ↓reduceIte]
-l    rw [ih v rest h.1]
-    simp only [length_append_sub, ↓reduceIte]
-a    rw [ih v rest h.1]
-    simp only [length_append_sub, ↓reduceIte]
-b    rw [ih v rest h.1]
-    simp only [length_append_sub, ↓reduceIte]
-l    rw [ih v rest h.1]
-    simp only [length_append_sub, ↓reduceIte]
-e    rw [ih v rest h.1]
-    simp only [length_append_sub, ↓reduceIte]
-S    rw [ih v rest h.1]
-    simp only [length_append_sub, ↓reduceIte]
-t    rw [ih v rest h.1]
-    simp only [length_append_sub, ↓reduceIte]
-r    rw [ih v rest h.1]
-    simp only [length_append_sub, ↓reduceIte]
-i    rw [ih v rest h.1]
-    simp only [length_append_sub, ↓reduceIte]
-n    rw [ih v rest h.1]
-    simp only [length_append_sub, ↓reduceIte]
-g    rw [ih v rest h.1]
-    simp only [length_append_sub, ↓reduceIte]
-_    rw [ih v rest h.1]
-    simp only [length_append_sub, ↓reduceIte]
-p    rw [ih v rest h.1]
-    simp only [length_append_sub, ↓reduceIte]
-u    rw [ih v rest h.1]
-    simp only [length_append_sub, ↓reduceIte]
-t    rw [ih v rest h.1]
-    simp only [length_append_sub, ↓reduceIte]
-     rw [ih v rest h.1]
-    simp only [length_append_sub, ↓reduceIte]
-n    rw [ih v rest h.1]
-    simp only [length_append_sub, ↓reduceIte]
-o    rw [ih v rest h.1]
-    simp only [length_append_sub, ↓reduceIte]
-n    rw [ih v rest h.1]
-    simp only [length_append_sub, ↓reduceIte]
-e    rw [ih v rest h.1]
-    simp only [length_append_sub, ↓reduceIte]
-     rw [ih v rest h.1]
-    simp only [length_append_sub, ↓reduceIte]
-r    rw [ih v rest h.1]
-    simp only [length_append_sub, ↓reduceIte]
-e    rw [ih v rest h.1]
-    simp only [length_append_sub, ↓reduceIte]
-s    rw [ih v rest h.1]
-    simp only [length_append_sub, ↓reduceIte]
-t    rw [ih v rest h.1]
-    simp only [length_append_sub, ↓reduceIte]
-     rw [ih v rest h.1]
-    simp only [length_append_sub, ↓reduceIte]
-(    rw [ih v rest h.1]
-    simp only [length_append_sub, ↓reduceIte]
-b    rw [ih v rest h.1]
-    simp only [length_append_sub, ↓reduceIte]
-y    rw [ih v rest h.1]
-    simp only [length_append_sub, ↓reduceIte]
-     rw [ih v rest h.1]
-    simp only [length_append_sub, ↓reduceIte]
-i    rw [ih v rest h.1]
-    simp only [length_append_sub, ↓reduceIte]
-n    rw [ih v rest h.1]
-    simp only [length_append_sub, ↓reduceIte]
-t    rw [ih v rest h.1]
-    simp only [length_append_sub, ↓reduceIte]
-r    rw [ih v rest h.1]
-    simp only [length_append_sub, ↓reduceIte]
-o    rw [ih v rest h.1]
-    simp only [length_append_sub, ↓reduceIte]
-     rw [ih v rest h.1]
-    simp only [length_append_sub, ↓reduceIte]
-b    rw [ih v rest h.1]
-    simp only [length_append_sub, ↓reduceIte]
-'    rw [ih v rest h.1]
-    simp only [length_append_sub, ↓reduceIte]
-     rw [ih v rest h.1]
-    simp only [length_append_sub, ↓reduceIte]
-h    rw [ih v rest h.1]
-    simp only [length_append_sub, ↓reduceIte]
-b    rw [ih v rest h.1]
-    simp only [length_append_sub, ↓reduceIte]
-;    rw [ih v rest h.1]
-    simp only [length_append_sub, ↓reduceIte]
-     rw [ih v rest h.1]
-    simp only [length_append_sub, ↓reduceIte]
-c    rw [ih v rest h.1]
-    simp only [length_append_sub, ↓reduceIte]
-a    rw [ih v rest h.1]
-    simp only [length_append_sub, ↓reduceIte]
-s    rw [ih v rest h.1]
-    simp only [length_append_sub, ↓reduceIte]
-e    rw [ih v rest h.1]
-    simp only [length_append_sub, ↓reduceIte]
-s    rw [ih v rest h.1]
-    simp only [length_append_sub, ↓reduceIte]
-     rw [ih v rest h.1]
-    simp only [length_append_sub, ↓reduceIte]
-h    rw [ih v rest h.1]
-    simp only [length_append_sub, ↓reduceIte]
-b    rw [ih v rest h.1]
-    simp only [length_append_sub, ↓reduceIte]
-)    rw [ih v rest h.1]
-    simp only [length_append_sub, ↓reduceIte]
-]    rw [ih v rest h.1]
-    simp only [length_append_sub, ↓reduceIte]
-;    rw [ih v rest h.1]
-    simp only [length_append_sub, ↓reduceIte]
-     rw [ih v rest h.1]
-    simp only [length_append_sub, ↓reduceIte]
-r    rw [ih v rest h.1]
-    simp only [length_append_sub, ↓reduceIte]
-f    rw [ih v rest h.1]
-    simp only [length_append_sub, ↓reduceIte]
-l    rw [ih v rest h.1]
-    simp only [length_append_sub, ↓reduceIte]
-
-    rw [ih v rest h.1]
-    simp only [length_append_sub, ↓reduceIte]
-     rw [ih v rest h.1]
-    simp only [length_append_sub, ↓reduceIte]
-     rw [ih v rest h.1]
-    simp only [length_append_sub, ↓reduceIte]
-c    rw [ih v rest h.1]
-    simp only [length_append_sub, ↓reduceIte]
-a    rw [ih v rest h.1]
-    simp only [length_append_sub, ↓reduceIte]
-s    rw [ih v rest h.1]
-    simp only [length_append_sub, ↓reduceIte]
-e    rw [ih v rest h.1]
-    simp only [length_append_sub, ↓reduceIte]
-     rw [ih v rest h.1]
-    simp only [length_append_sub, ↓reduceIte]
-c    rw [ih v rest h.1]
-    simp only [length_append_sub, ↓reduceIte]
-s    rw [ih v rest h.1]
-    simp only [length_append_sub, ↓reduceIte]
-t    rw [ih v rest h.1]
-    simp only [length_append_sub, ↓reduceIte]
-r    rw [ih v rest h.1]
-    simp only [length_append_sub, ↓reduceIte]
-.    rw [ih v rest h.1]
-    simp only [length_append_sub, ↓reduceIte]
-b    rw [ih v rest h.1]
-    simp only [length_append_sub, ↓reduceIte]
-y    rw [ih v rest h.1]
-    simp only [length_append_sub, ↓reduceIte]
-t    rw [ih v rest h.1]
-    simp only [length_append_sub, ↓reduceIte]
-e    rw [ih v rest h.1]
-    simp only [length_append_sub, ↓reduceIte]
-s    rw [ih v rest h.1]
-    simp only [length_append_sub, ↓reduceIte]
-     rw [ih v rest h.1]
-    simp only [length_append_sub, ↓reduceIte]
-s    rw [ih v rest h.1]
-    simp only [length_append_sub, ↓reduceIte]
-     rw [ih v rest h.1]
-    simp only [length_append_sub, ↓reduceIte]
-=    rw [ih v rest h.1]
-    simp only [length_append_sub, ↓reduceIte]
->    rw [ih v rest h.1]
-    simp only [length_append_sub, ↓reduceIte]
-     rw [ih v rest h.1]
-    simp only [length_append_sub, ↓reduceIte]
-r    rw [ih v rest h.1]
-    simp only [length_append_sub, ↓reduceIte]
-w    rw [ih v rest h.1]
-    simp only [length_append_sub, ↓reduceIte]
-     rw [ih v rest h.1]
-    simp only [length_append_sub, ↓reduceIte]
-[    rw [ih v rest h.1]
-    simp only [length_append_sub, ↓reduceIte]
-g    rw [ih v rest h.1]
-    simp only [length_append_sub, ↓reduceIte]
-e    rw [ih v rest h.1]
-    simp only [length_append_sub, ↓reduceIte]
-t    rw [ih v rest h.1]
-    simp only [length_append_sub, ↓reduceIte]
-C    rw [ih v rest h.1]
-    simp only [length_append_sub, ↓reduceIte]
-o    rw [ih v rest h.1]
-    simp only [length_append_sub, ↓reduceIte]
-m    rw [ih v rest h.1]
-    simp only [length_append_sub, ↓reduceIte]
-p    rw [ih v rest h.1]
-    simp only [length_append_sub, ↓reduceIte]
-a    rw [ih v rest h.1]
-    simp only [length_append_sub, ↓reduceIte]
-c    rw [ih v rest h.1]
-    simp only [length_append_sub, ↓reduceIte]
-t    rw [ih v rest h.1]
-    simp only [length_append_sub, ↓reduceIte]
-S    rw [ih v rest h.1]
-    simp only [length_append_sub, ↓reduceIte]
-t    rw [ih v rest h.1]
-    simp only [length_append_sub, ↓reduceIte]
-r    rw [ih v rest h.1]
-    simp only [length_append_sub, ↓reduceIte]
-i    rw [ih v rest h.1]
-    simp only [length_append_sub, ↓reduceIte]
-n    rw [ih v rest h.1]
-    simp only [length_append_sub, ↓reduceIte]
-g    rw [ih v rest h.1]
-    simp only [length_append_sub, ↓reduceIte]
-_    rw [ih v rest h.1]
-    simp only [length_append_sub, ↓reduceIte]
-p    rw [ih v rest h.1]
-    simp only [length_append_sub, ↓reduceIte]
-u    rw [ih v rest h.1]
-    simp only [length_append_sub, ↓reduceIte]
-t    rw [ih v rest h.1]
-    simp only [length_append_sub, ↓reduceIte]
-     rw [ih v rest h.1]
-    simp only [length_append_sub, ↓reduceIte]
-s    rw [ih v rest h.1]
-    simp only [length_append_sub, ↓reduceIte]
-     rw [ih v rest h.1]
-    simp only [length_append_sub, ↓reduceIte]
-r    rw [ih v rest h.1]
-    simp only [length_append_sub, ↓reduceIte]
-e    rw [ih v rest h.1]
-    simp only [length_append_sub, ↓reduceIte]
-s    rw [ih v rest h.1]
-    simp only [length_append_sub, ↓reduceIte]
-t    rw [ih v rest h.1]
-    simp only [length_append_sub, ↓reduceIte]
-     rw [ih v rest h.1]
-    simp only [length_append_sub, ↓reduceIte]
-h    rw [ih v rest h.1]
-    simp only [length_append_sub, ↓reduceIte]
-]    rw [ih v rest h.1]
-    simp only [length_append_sub, ↓reduceIte]
-;    rw [ih v rest h.1]
-    simp only [length_append_sub, ↓reduceIte]
-     rw [ih v rest h.1]
-    simp only [length_append_sub, ↓reduceIte]
-r    rw [ih v rest h.1]
-    simp only [length_append_sub, ↓reduceIte]
-f    rw [ih v rest h.1]
-    simp only [length_append_sub, ↓reduceIte]
-l    rw [ih v rest h.1]
-    simp only [length_append_sub, ↓reduceIte]
-
-    rw [ih v rest h.1]
-    simp only [length_append_sub, ↓reduceIte]
-     rw [ih v rest h.1]
-    simp only [length_append_sub, ↓reduceIte]
-     rw [ih v rest h.1]
-    simp only [length_append_sub, ↓reduceIte]
-c    rw [ih v rest h.1]
-    simp only [length_append_sub, ↓reduceIte]
-a    rw [ih v rest h.1]
-    simp only [length_append_sub, ↓reduceIte]
-s    rw [ih v rest h.1]
-    simp only [length_append_sub, ↓reduceIte]
-e    rw [ih v rest h.1]
-    simp only [length_append_sub, ↓reduceIte]
-     rw [ih v rest h.1]
-    simp only [length_append_sub, ↓reduceIte]
-n    rw [ih v rest h.1]
-    simp only [length_append_sub, ↓reduceIte]
-c    rw [ih v rest h.1]
-    simp only [length_append_sub, ↓reduceIte]
-s    rw [ih v rest h.1]
-    simp only [length_append_sub, ↓reduceIte]
-t    rw [ih v rest h.1]
-    simp only [length_append_sub, ↓reduceIte]
-r    rw [ih v rest h.1]
-    simp only [length_append_sub, ↓reduceIte]
-.    rw [ih v rest h.1]
-    simp only [length_append_sub, ↓reduceIte]
-b    rw [ih v rest h.1]
-    simp only [length_append_sub, ↓reduceIte]
-y    rw [ih v rest h.1]
-    simp only [length_append_sub, ↓reduceIte]
-t    rw [ih v rest h.1]
-    simp only [length_append_sub, ↓reduceIte]
-e    rw [ih v rest h.1]
-    simp only [length_append_sub, ↓reduceIte]
-s    rw [ih v rest h.1]
-    simp only [length_append_sub, ↓reduceIte]
-     rw [ih v rest h.1]
-    simp only [length_append_sub, ↓reduceIte]
-s    rw [ih v rest h.1]
-    simp only [length_append_sub, ↓reduceIte]
-     rw [ih v rest h.1]
-    simp only [length_append_sub, ↓reduceIte]
-=    rw [ih v rest h.1]
-    simp only [length_append_sub, ↓reduceIte]
->    rw [ih v rest h.1]
-    simp only [length_append_sub, ↓reduceIte]
-     rw [ih v rest h.1]
-    simp only [length_append_sub, ↓reduceIte]
-r    rw [ih v rest h.1]
-    simp only [length_append_sub, ↓reduceIte]
-w    rw [ih v rest h.1]
-    simp only [length_append_sub, ↓reduceIte]
-     rw [ih v rest h.1]
-    simp only [length_append_sub, ↓reduceIte]
-[    rw [ih v rest h.1]
-    simp only [length_append_sub, ↓reduceIte]
-g    rw [ih v rest h.1]
-    simp only [length_append_sub, ↓reduceIte]
-e    rw [ih v rest h.1]
-    simp only [length_append_sub, ↓reduceIte]
-t    rw [ih v rest h.1]
-    simp only [length_append_sub, ↓reduceIte]
-C    rw [ih v rest h.1]
-    simp only [length_append_sub, ↓reduceIte]
-o    rw [ih v rest h.1]
-    simp only [length_append_sub, ↓reduceIte]
-m    rw [ih v rest h.1]
-    simp only [length_append_sub, ↓reduceIte]
-p    rw [ih v rest h.1]
-    simp only [length_append_sub, ↓reduceIte]
-a    rw [ih v rest h.1]
-    simp only [length_append_sub, ↓reduceIte]
-c    rw [ih v rest h.1]
-    simp only [length_append_sub, ↓reduceIte]
-t    rw [ih v rest h.1]
-    simp only [length_append_sub, ↓reduceIte]
-N    rw [ih v rest h.1]
-    simp only [length_append_sub, ↓reduceIte]
-u    rw [ih v rest h.1]
-    simp only [length_append_sub, ↓reduceIte]
-l    rw [ih v rest h.1]
-    simp only [length_append_sub, ↓reduceIte]
-l    rw [ih v rest h.1]
-    simp only [length_append_sub, ↓reduceIte]
-a    rw [ih v rest h.1]
-    simp only [length_append_sub, ↓reduceIte]
-b    rw [ih v rest h.1]
-    simp only [length_append_sub, ↓reduceIte]
-l    rw [ih v rest h.1]
-    simp only [length_append_sub, ↓reduceIte]
-e    rw [ih v rest h.1]
-    simp only [length_append_sub, ↓reduceIte]
-S    rw [ih v rest h.1]
-    simp only [length_append_sub, ↓reduceIte]
-t    rw [ih v rest h.1]
-    simp only [length_append_sub, ↓reduceIte]
-r    rw [ih v rest h.1]
-    simp only [length_append_sub, ↓reduceIte]
-i    rw [ih v rest h.1]
-    simp only [length_append_sub, ↓reduceIte]
-n    rw [ih v rest h.1]
-    simp only [length_append_sub, ↓reduceIte]
-g    rw [ih v rest h.1]
-    simp only [length_append_sub, ↓reduceIte]
-_    rw [ih v rest h.1]
-    simp only [length_append_sub, ↓reduceIte]
-p    rw [ih v rest h.1]
-    simp only [length_append_sub, ↓reduceIte]
-u    rw [ih v rest h.1]
-    simp only [length_append_sub, ↓reduceIte]
-t    rw [ih v rest h.1]
-    simp only [length_append_sub, ↓reduceIte]
-     rw [ih v rest h.1]
-    simp only [length_append_sub, ↓reduceIte]
-(    rw [ih v rest h.1]
-    simp only [length_append_sub, ↓reduceIte]
-s    rw [ih v rest h.1]
-    simp only [length_append_sub, ↓reduceIte]
-o    rw [ih v rest h.1]
-    simp only [length_append_sub, ↓reduceIte]
-m    rw [ih v rest h.1]
-    simp only [length_append_sub, ↓reduceIte]
-e    rw [ih v rest h.1]
-    simp only [length_append_sub, ↓reduceIte]
-     rw [ih v rest h.1]
-    simp only [length_append_sub, ↓reduceIte]
-s    rw [ih v rest h.1]
-    simp only [length_append_sub, ↓reduceIte]
-)    rw [ih v rest h.1]
-    simp only [length_append_sub, ↓reduceIte]
-     rw [ih v rest h.1]
-    simp only [length_append_sub, ↓reduceIte]
-r    rw [ih v rest h.1]
-    simp only [length_append_sub, ↓reduceIte]
-e    rw [ih v rest h.1]
-    simp only [length_append_sub, ↓reduceIte]
-s    rw [ih v rest h.1]
-    simp only [length_append_sub, ↓reduceIte]
-t    rw [ih v rest h.1]
-    simp only [length_append_sub, ↓reduceIte]
-     rw [ih v rest h.1]
-    simp only [length_append_sub, ↓reduceIte]
-(    rw [ih v rest h.1]
-    simp only [length_append_sub, ↓reduceIte]
-b    rw [ih v rest h.1]
-    simp only [length_append_sub, ↓reduceIte]
-y    rw [ih v rest h.1]
-    simp only [length_append_sub, ↓reduceIte]
-     rw [ih v rest h.1]
-    simp only [length_append_sub, ↓reduceIte]
-i    rw [ih v rest h.1]
-    simp only [length_append_sub, ↓reduceIte]
-n    rw [ih v rest h.1]
-    simp only [length_append_sub, ↓reduceIte]
-t    rw [ih v rest h.1]
-    simp only [length_append_sub, ↓reduceIte]
-r    rw [ih v rest h.1]
-    simp only [length_append_sub, ↓reduceIte]
-o    rw [ih v rest h.1]
-    simp only [length_append_sub, ↓reduceIte]
-     rw [ih v rest h.1]
-    simp only [length_append_sub, ↓reduceIte]
-b    rw [ih v rest h.1]
-    simp only [length_append_sub, ↓reduceIte]
-'    rw [ih v rest h.1]
-    simp only [length_append_sub, ↓reduceIte]
-     rw [ih v rest h.1]
-    simp only [length_append_sub, ↓reduceIte]
-h    rw [ih v rest h.1]
-    simp only [length_append_sub, ↓reduceIte]
-b    rw [ih v rest h.1]
-    simp only [length_append_sub, ↓reduceIte]
-;    rw [ih v rest h.1]
-    simp only [length_append_sub, ↓reduceIte]
-     rw [ih v rest h.1]
-    simp only [length_append_sub, ↓reduceIte]
-c    rw [ih v rest h.1]
-    simp only [length_append_sub, ↓reduceIte]
-a    rw [ih v rest h.1]
-    simp only [length_append_sub, ↓reduceIte]
-s    rw [ih v rest h.1]
-    simp only [length_append_sub, ↓reduceIte]
-e    rw [ih v rest h.1]
-    simp only [length_append_sub, ↓reduceIte]
-s    rw [ih v rest h.1]
-    simp only [length_append_sub, ↓reduceIte]
-     rw [ih v rest h.1]
-    simp only [length_append_sub, ↓reduceIte]
-h    rw [ih v rest h.1]
-    simp only [length_append_sub, ↓reduceIte]
-b    rw [ih v rest h.1]
-    simp only [length_append_sub, ↓reduceIte]
-;    rw [ih v rest h.1]
-    simp only [length_append_sub, ↓reduceIte]
-     rw [ih v rest h.1]
-    simp only [length_append_sub, ↓reduceIte]
-e    rw [ih v rest h.1]
-    simp only [length_append_sub, ↓reduceIte]
-x    rw [ih v rest h.1]
-    simp only [length_append_sub, ↓reduceIte]
-a    rw [ih v rest h.1]
-    simp only [length_append_sub, ↓reduceIte]
-c    rw [ih v rest h.1]
-    simp only [length_append_sub, ↓reduceIte]
-t    rw [ih v rest h.1]
-    simp only [length_append_sub, ↓reduceIte]
-     rw [ih v rest h.1]
-    simp only [length_append_sub, ↓reduceIte]
-h    rw [ih v rest h.1]
-    simp only [length_append_sub, ↓reduceIte]
-)    rw [ih v rest h.1]
-    simp only [length_append_sub, ↓reduceIte]
-]    rw [ih v rest h.1]
-    simp only [length_append_sub, ↓reduceIte]
-;    rw [ih v rest h.1]
-    simp only [length_append_sub, ↓reduceIte]
-     rw [ih v rest h.1]
-    simp only [length_append_sub, ↓reduceIte]
-r    rw [ih v rest h.1]
-    simp only [length_append_sub, ↓reduceIte]
-f    rw [ih v rest h.1]
-    simp only [length_append_sub, ↓reduceIte]
-l    rw [ih v rest h.1]
-    simp only [length_append_sub, ↓reduceIte]
-
-    rw [ih v rest h.1]
-    simp only [length_append_sub, ↓reduceIte]
-     rw [ih v rest h.1]
-    simp only [length_append_sub, ↓reduceIte]
-     rw [ih v rest h.1]
-    simp only [length_append_sub, ↓reduceIte]
-c    rw [ih v rest h.1]
-    simp only [length_append_sub, ↓reduceIte]
-a    rw [ih v rest h.1]
-    simp only [length_append_sub, ↓reduceIte]
-s    rw [ih v rest h.1]
-    simp only [length_append_sub, ↓reduceIte]
-e    rw [ih v rest h.1]
-    simp only [length_append_sub, ↓reduceIte]
-     rw [ih v rest h.1]
-    simp only [length_append_sub, ↓reduceIte]
-n    rw [ih v rest h.1]
-    simp only [length_append_sub, ↓reduceIte]
-c    rw [ih v rest h.1]
-    simp only [length_append_sub, ↓reduceIte]
-s    rw [ih v rest h.1]
-    simp only [length_append_sub, ↓reduceIte]
-t    rw [ih v rest h.1]
-    simp only [length_append_sub, ↓reduceIte]
-r    rw [ih v rest h.1]
-    simp only [length_append_sub, ↓reduceIte]
-.    rw [ih v rest h.1]
-    simp only [length_append_sub, ↓reduceIte]
-n    rw [ih v rest h.1]
-    simp only [length_append_sub, ↓reduceIte]
-u    rw [ih v rest h.1]
-    simp only [length_append_sub, ↓reduceIte]
-l    rw [ih v rest h.1]
-    simp only [length_append_sub, ↓reduceIte]
-l    rw [ih v rest h.1]
-    simp only [length_append_sub, ↓reduceIte]
-     rw [ih v rest h.1]
-    simp only [length_append_sub, ↓reduceIte]
-=    rw [ih v rest h.1]
-    simp only [length_append_sub, ↓reduceIte]
->    rw [ih v rest h.1]
-    simp only [length_append_sub, ↓reduceIte]
-     rw [ih v rest h.1]
-    simp only [length_append_sub, ↓reduceIte]
-r    rw [ih v rest h.1]
-    simp only [length_append_sub, ↓reduceIte]
-w    rw [ih v rest h.1]
-    simp only [length_append_sub, ↓reduceIte]
-     rw [ih v rest h.1]
-    simp only [length_append_sub, ↓reduceIte]
-[    rw [ih v rest h.1]
-    simp only [length_append_sub, ↓reduceIte]
-g    rw [ih v rest h.1]
-    simp only [length_append_sub, ↓reduceIte]
-e    rw [ih v rest h.1]
-    simp only [length_append_sub, ↓reduceIte]
-t    rw [ih v rest h.1]
-    simp only [length_append_sub, ↓reduceIte]
-C    rw [ih v rest h.1]
-    simp only [length_append_sub, ↓reduceIte]
-o    rw [ih v rest h.1]
-    simp only [length_append_sub, ↓reduceIte]
-m    rw [ih v rest h.1]
-    simp only [length_append_sub, ↓reduceIte]
-p    rw [ih v rest h.1]
-    simp only [length_append_sub, ↓reduceIte]
-a    rw [ih v rest h.1]
-    simp only [length_append_sub, ↓reduceIte]
-c    rw [ih v rest h.1]
-    simp only [length_append_sub, ↓reduceIte]
-t    rw [ih v rest h.1]
-    simp only [length_append_sub, ↓reduceIte]
-N    rw [ih v rest h.1]
-    simp only [length_append_sub, ↓reduceIte]
-u    rw [ih v rest h.1]
-    simp only [length_append_sub, ↓reduceIte]
-l    rw [ih v rest h.1]
-    simp only [length_append_sub, ↓reduceIte]
-l    rw [ih v rest h.1]
-    simp only [length_append_sub, ↓reduceIte]
-a    rw [ih v rest h.1]
-    simp only [length_append_sub, ↓reduceIte]
-b    rw [ih v rest h.1]
-    simp only [length_append_sub, ↓reduceIte]
-l    rw [ih v rest h.1]
-    simp only [length_append_sub, ↓reduceIte]
-e    rw [ih v rest h.1]
-    simp only [length_append_sub, ↓reduceIte]
-S    rw [ih v rest h.1]
-    simp only [length_append_sub, ↓reduceIte]
-t    rw [ih v rest h.1]
-    simp only [length_append_sub, ↓reduceIte]
-r    rw [ih v rest h.1]
-    simp only [length_append_sub, ↓reduceIte]
-i    rw [ih v rest h.1]
-    simp only [length_append_sub, ↓reduceIte]
-n    rw [ih v rest h.1]
-    simp only [length_append_sub, ↓reduceIte]
-g    rw [ih v rest h.1]
-    simp only [length_append_sub, ↓reduceIte]
-_    rw [ih v rest h.1]
-    simp only [length_append_sub, ↓reduceIte]
-p    rw [ih v rest h.1]
-    simp only [length_append_sub, ↓reduceIte]
-u    rw [ih v rest h.1]
-    simp only [length_append_sub, ↓reduceIte]
-t    rw [ih v rest h.1]
-    simp only [length_append_sub, ↓reduceIte]
-     rw [ih v rest h.1]
-    simp only [length_append_sub, ↓reduceIte]
-n    rw [ih v rest h.1]
-    simp only [length_append_sub, ↓reduceIte]
-o    rw [ih v rest h.1]
-    simp only [length_append_sub, ↓reduceIte]
-n    rw [ih v rest h.1]
-    simp only [length_append_sub, ↓reduceIte]
-e    rw [ih v rest h.1]
-    simp only [length_append_sub, ↓reduceIte]
-     rw [ih v rest h.1]
-    simp only [length_append_sub, ↓reduceIte]
-r    rw [ih v rest h.1]
-    simp only [length_append_sub, ↓reduceIte]
-e    rw [ih v rest h.1]
-    simp only [length_append_sub, ↓reduceIte]
-s    rw [ih v rest h.1]
-    simp only [length_append_sub, ↓reduceIte]
-t    rw [ih v rest h.1]
-    simp only [length_append_sub, ↓reduceIte]
-     rw [ih v rest h.1]
-    simp only [length_append_sub, ↓reduceIte]
-(    rw [ih v rest h.1]
-    simp only [length_append_sub, ↓reduceIte]
-b    rw [ih v rest h.1]
-    simp only [length_append_sub, ↓reduceIte]
-y    rw [ih v rest h.1]
-    simp only [length_append_sub, ↓reduceIte]
-     rw [ih v rest h.1]
-    simp only [length_append_sub, ↓reduceIte]
-i    rw [ih v rest h.1]
-    simp only [length_append_sub, ↓reduceIte]
-n    rw [ih v rest h.1]
-    simp only [length_append_sub, ↓reduceIte]
-t    rw [ih v rest h.1]
-    simp only [length_append_sub, ↓reduceIte]
-r    rw [ih v rest h.1]
-    simp only [length_append_sub, ↓reduceIte]
-o    rw [ih v rest h.1]
-    simp only [length_append_sub, ↓reduceIte]
-     rw [ih v rest h.1]
-    simp only [length_append_sub, ↓reduceIte]
-b    rw [ih v rest h.1]
-    simp only [length_append_sub, ↓reduceIte]
-'    rw [ih v rest h.1]
-    simp only [length_append_sub, ↓reduceIte]
-     rw [ih v rest h.1]
-    simp only [length_append_sub, ↓reduceIte]
-h    rw [ih v rest h.1]
-    simp only [length_append_sub, ↓reduceIte]
-b    rw [ih v rest h.1]
-    simp only [length_append_sub, ↓reduceIte]
-;    rw [ih v rest h.1]
-    simp only [length_append_sub, ↓reduceIte]
-     rw [ih v rest h.1]
-    simp only [length_append_sub, ↓reduceIte]
-c    rw [ih v rest h.1]
-    simp only [length_append_sub, ↓reduceIte]
-a    rw [ih v rest h.1]
-    simp only [length_append_sub, ↓reduceIte]
-s    rw [ih v rest h.1]
-    simp only [length_append_sub, ↓reduceIte]
-e    rw [ih v rest h.1]
-    simp only [length_append_sub, ↓reduceIte]
-s    rw [ih v rest h.1]
-    simp only [length_append_sub, ↓reduceIte]
-     rw [ih v rest h.1]
-    simp only [length_append_sub, ↓reduceIte]
-h    rw [ih v rest h.1]
-    simp only [length_append_sub, ↓reduceIte]
-b    rw [ih v rest h.1]
-    simp only [length_append_sub, ↓reduceIte]
-)    rw [ih v rest h.1]
-    simp only [length_append_sub, ↓reduceIte]
-]    rw [ih v rest h.1]
-    simp only [length_append_sub, ↓reduceIte]
-;    rw [ih v rest h.1]
-    simp only [length_append_sub, ↓reduceIte]
-     rw [ih v rest h.1]
-    simp only [length_append_sub, ↓reduceIte]
-r    rw [ih v rest h.1]
-    simp only [length_append_sub, ↓reduceIte]
-f    rw [ih v rest h.1]
-    simp only [length_append_sub, ↓reduceIte]
-l    rw [ih v rest h.1]
-    simp only [length_append_sub, ↓reduceIte]
-
-    rw [ih v rest h.1]
-    simp only [length_append_sub, ↓reduceIte]
-     rw [ih v rest h.1]
-    simp only [length_append_sub, ↓reduceIte]
-     rw [ih v rest h.1]
-    simp only [length_append_sub, ↓reduceIte]
-c    rw [ih v rest h.1]
-    simp only [length_append_sub, ↓reduceIte]
-a    rw [ih v rest h.1]
-    simp only [length_append_sub, ↓reduceIte]
-s    rw [ih v rest h.1]
-    simp only [length_append_sub, ↓reduceIte]
-e    rw [ih v rest h.1]
-    simp only [length_append_sub, ↓reduceIte]
-     rw [ih v rest h.1]
-    simp only [length_append_sub, ↓reduceIte]
-i    rw [ih v rest h.1]
-    simp only [length_append_sub, ↓reduceIte]
-3    rw [ih v rest h.1]
-    simp only [length_append_sub, ↓reduceIte]
-2    rw [ih v rest h.1]
-    simp only [length_append_sub, ↓reduceIte]
-a    rw [ih v rest h.1]
-    simp only [length_append_sub, ↓reduceIte]
-r    rw [ih v rest h.1]
-    simp only [length_append_sub, ↓reduceIte]
-r    rw [ih v rest h.1]
-    simp only [length_append_sub, ↓reduceIte]
-.    rw [ih v rest h.1]
-    simp only [length_append_sub, ↓reduceIte]
-l    rw [ih v rest h.1]
-    simp only [length_append_sub, ↓reduceIte]
-i    rw [ih v rest h.1]
-    simp only [length_append_sub, ↓reduceIte]
-s    rw [ih v rest h.1]
-    simp only [length_append_sub, ↓reduceIte]
-t    rw [ih v rest h.1]
-    simp only [length_append_sub, ↓reduceIte]
-     rw [ih v rest h.1]
-    simp only [length_append_sub, ↓reduceIte]
-v    rw [ih v rest h.1]
-    simp only [length_append_sub, ↓reduceIte]
-s    rw [ih v rest h.1]
-    simp only [length_append_sub, ↓reduceIte]
-     rw [ih v rest h.1]
-    simp only [length_append_sub, ↓reduceIte]
-=    rw [ih v rest h.1]
-    simp only [length_append_sub, ↓reduceIte]
->    rw [ih v rest h.1]
-    simp only [length_append_sub, ↓reduceIte]
-
-    rw [ih v rest h.1]
-    simp only [length_append_sub, ↓reduceIte]
-     rw [ih v rest h.1]
-    simp only [length_append_sub, ↓reduceIte]
-     rw [ih v rest h.1]
-    simp only [length_append_sub, ↓reduceIte]
-     rw [ih v rest h.1]
-    simp only [length_append_sub, ↓reduceIte]
-     rw [ih v rest h.1]
-    simp only [length_append_sub, ↓reduceIte]
-h    rw [ih v rest h.1]
-    simp only [length_append_sub, ↓reduceIte]
-a    rw [ih v rest h.1]
-    simp only [length_append_sub, ↓reduceIte]
-v    rw [ih v rest h.1]
-    simp only [length_append_sub, ↓reduceIte]
-e    rw [ih v rest h.1]
-    simp only [length_append_sub, ↓reduceIte]
-     rw [ih v rest h.1]
-    simp only [length_append_sub, ↓reduceIte]
-h    rw [ih v rest h.1]
-    simp only [length_append_sub, ↓reduceIte]
-s    rw [ih v rest h.1]
-    simp only [length_append_sub, ↓reduceIte]
-     rw [ih v rest h.1]
-    simp only [length_append_sub, ↓reduceIte]
-:    rw [ih v rest h.1]
-    simp only [length_append_sub, ↓reduceIte]
-=    rw [ih v rest h.1]
-    simp only [length_append_sub, ↓reduceIte]
-     rw [ih v rest h.1]
-    simp only [length_append_sub, ↓reduceIte]
-a    rw [ih v rest h.1]
-    simp only [length_append_sub, ↓reduceIte]
-l    rw [ih v rest h.1]
-    simp only [length_append_sub, ↓reduceIte]
-l    rw [ih v rest h.1]
-    simp only [length_append_sub, ↓reduceIte]
-I    rw [ih v rest h.1]
-    simp only [length_append_sub, ↓reduceIte]
-n    rw [ih v rest h.1]
-    simp only [length_append_sub, ↓reduceIte]
-t    rw [ih v rest h.1]
-    simp only [length_append_sub, ↓reduceIte]
-_    rw [ih v rest h.1]
-    simp only [length_append_sub, ↓reduceIte]
-s    rw [ih v rest h.1]
-    simp only [length_append_sub, ↓reduceIte]
-p    rw [ih v rest h.1]
-    simp only [length_append_sub, ↓reduceIte]
-e    rw [ih v rest h.1]
-    simp only [length_append_sub, ↓reduceIte]
-c    rw [ih v rest h.1]
-    simp only [length_append_sub, ↓reduceIte]
-     rw [ih v rest h.1]
-    simp only [length_append_sub, ↓reduceIte]
-4    rw [ih v rest h.1]
-    simp only [length_append_sub, ↓reduceIte]
-     rw [ih v rest h.1]
-    simp only [length_append_sub, ↓reduceIte]
-v    rw [ih v rest h.1]
-    simp only [length_append_sub, ↓reduceIte]
-s    rw [ih v rest h.1]
-    simp only [length_append_sub, ↓reduceIte]
-     rw [ih v rest h.1]
-    simp only [length_append_sub, ↓reduceIte]
-h    rw [ih v rest h.1]
-    simp only [length_append_sub, ↓reduceIte]
-.    rw [ih v rest h.1]
-    simp only [length_append_sub, ↓reduceIte]
-2    rw [ih v rest h.1]
-    simp only [length_append_sub, ↓reduceIte]
-
-    rw [ih v rest h.1]
-    simp only [length_append_sub, ↓reduceIte]
-     rw [ih v rest h.1]
-    simp only [length_append_sub, ↓reduceIte]
-     rw [ih v rest h.1]
-    simp only [length_append_sub, ↓reduceIte]
-     rw [ih v rest h.1]
-    simp only [length_append_sub, ↓reduceIte]
-     rw [ih v rest h.1]
-    simp only [length_append_sub, ↓reduceIte]
-r    rw [ih v rest h.1]
-    simp only [length_append_sub, ↓reduceIte]
-w    rw [ih v rest h.1]
-    simp only [length_append_sub, ↓reduceIte]
-     rw [ih v rest h.1]
-    simp only [length_append_sub, ↓reduceIte]
-[    rw [ih v rest h.1]
-    simp only [length_append_sub, ↓reduceIte]
-g    rw [ih v rest h.1]
-    simp only [length_append_sub, ↓reduceIte]
-e    rw [ih v rest h.1]
-    simp only [length_append_sub, ↓reduceIte]
-t    rw [ih v rest h.1]
-    simp only [length_append_sub, ↓reduceIte]
-I    rw [ih v rest h.1]
-    simp only [length_append_sub, ↓reduceIte]
-n    rw [ih v rest h.1]
-    simp only [length_append_sub, ↓reduceIte]
-t    rw [ih v rest h.1]
-    simp only [length_append_sub, ↓reduceIte]
-A    rw [ih v rest h.1]
-    simp only [length_append_sub, ↓reduceIte]
-r    rw [ih v rest h.1]
-    simp only [length_append_sub, ↓reduceIte]
-r    rw [ih v rest h.1]
-    simp only [length_append_sub, ↓reduceIte]
-a    rw [ih v rest h.1]
-    simp only [length_append_sub, ↓reduceIte]
-y    rw [ih v rest h.1]
-    simp only [length_append_sub, ↓reduceIte]
-_    rw [ih v rest h.1]
-    simp only [length_append_sub, ↓reduceIte]
-p    rw [ih v rest h.1]
-    simp only [length_append_sub, ↓reduceIte]
-u    rw [ih v rest h.1]
-    simp only [length_append_sub, ↓reduceIte]
-t    rw [ih v rest h.1]
-    simp only [length_append_sub, ↓reduceIte]
-     rw [ih v rest h.1]
-    simp only [length_append_sub, ↓reduceIte]
-4    rw [ih v rest h.1]
-    simp only [length_append_sub, ↓reduceIte]
-     rw [ih v rest h.1]
-    simp only [length_append_sub, ↓reduceIte]
-(    rw [ih v rest h.1]
-    simp only [length_append_sub, ↓reduceIte]
-b    rw [ih v rest h.1]
-    simp only [length_append_sub, ↓reduceIte]
-y    rw [ih v rest h.1]
-    simp only [length_append_sub, ↓reduceIte]
-     rw [ih v rest h.1]
-    simp only [length_append_sub, ↓reduceIte]
-d    rw [ih v rest h.1]
-    simp only [length_append_sub, ↓reduceIte]
-e    rw [ih v rest h.1]
-    simp only [length_append_sub, ↓reduceIte]
-c    rw [ih v rest h.1]
-    simp only [length_append_sub, ↓reduceIte]
-i    rw [ih v rest h.1]
-    simp only [length_append_sub, ↓reduceIte]
-d    rw [ih v rest h.1]
-    simp only [length_append_sub, ↓reduceIte]
-e    rw [ih v rest h.1]
-    simp only [length_append_sub, ↓reduceIte]
-)    rw [ih v rest h.1]
-    simp only [length_append_sub, ↓reduceIte]
-     rw [ih v rest h.1]
-    simp only [length_append_sub, ↓reduceIte]
-_    rw [ih v rest h.1]
-    simp only [length_append_sub, ↓reduceIte]
-     rw [ih v rest h.1]
-    simp only [length_append_sub, ↓reduceIte]
-r    rw [ih v rest h.1]
-    simp only [length_append_sub, ↓reduceIte]
-e    rw [ih v rest h.1]
-    simp only [length_append_sub, ↓reduceIte]
-s    rw [ih v rest h.1]
-    simp only [length_append_sub, ↓reduceIte]
-t    rw [ih v rest h.1]
-    simp only [length_append_sub, ↓reduceIte]
-     rw [ih v rest h.1]
-    simp only [length_append_sub, ↓reduceIte]
-(    rw [ih v rest h.1]
-    simp only [length_append_sub, ↓reduceIte]
-b    rw [ih v rest h.1]
-    simp only [length_append_sub, ↓reduceIte]
-y    rw [ih v rest h.1]
-    simp only [length_append_sub, ↓reduceIte]
-     rw [ih v rest h.1]
-    simp only [length_append_sub, ↓reduceIte]
-r    rw [ih v rest h.1]
-    simp only [length_append_sub, ↓reduceIte]
-w    rw [ih v rest h.1]
-    simp only [length_append_sub, ↓reduceIte]
-     rw [ih v rest h.1]
-    simp only [length_append_sub, ↓reduceIte]
-[    rw [ih v rest h.1]
-    simp only [length_append_sub, ↓reduceIte]
-i    rw [ih v rest h.1]
-    simp only [length_append_sub, ↓reduceIte]
-n    rw [ih v rest h.1]
-    simp only [length_append_sub, ↓reduceIte]
-t    rw [ih v rest h.1]
-    simp only [length_append_sub, ↓reduceIte]
-s    rw [ih v rest h.1]
-    simp only [length_append_sub, ↓reduceIte]
-O    rw [ih v rest h.1]
-    simp only [length_append_sub, ↓reduceIte]
-f    rw [ih v rest h.1]
-    simp only [length_append_sub, ↓reduceIte]
-_    rw [ih v rest h.1]
-    simp only [length_append_sub, ↓reduceIte]
-l    rw [ih v rest h.1]
-    simp only [length_append_sub, ↓reduceIte]
-e    rw [ih v rest h.1]
-    simp only [length_append_sub, ↓reduceIte]
-n    rw [ih v rest h.1]
-    simp only [length_append_sub, ↓reduceIte]
-g    rw [ih v rest h.1]
-    simp only [length_append_sub, ↓reduceIte]
-t    rw [ih v rest h.1]
-    simp only [length_append_sub, ↓reduceIte]
-h    rw [ih v rest h.1]
-    simp only [length_append_sub, ↓reduceIte]
-]    rw [ih v rest h.1]
-    simp only [length_append_sub, ↓reduceIte]
-;    rw [ih v rest h.1]
-    simp only [length_append_sub, ↓reduceIte]
-     rw [ih v rest h.1]
-    simp only [length_append_sub, ↓reduceIte]
-e    rw [ih v rest h.1]
-    simp only [length_append_sub, ↓reduceIte]
-x    rw [ih v rest h.1]
-    simp only [length_append_sub, ↓reduceIte]
-a    rw [ih v rest h.1]
-    simp only [length_append_sub, ↓reduceIte]
-c    rw [ih v rest h.1]
-    simp only [length_append_sub, ↓reduceIte]
-t    rw [ih v rest h.1]
-    simp only [length_append_sub, ↓reduceIte]
-     rw [ih v rest h.1]
-    simp only [length_append_sub, ↓reduceIte]
-h    rw [ih v rest h.1]
-    simp only [length_append_sub, ↓reduceIte]
-.    rw [ih v rest h.1]
-    simp only [length_append_sub, ↓reduceIte]
-1    rw [ih v rest h.1]
-    simp only [length_append_sub, ↓reduceIte]
-)    rw [ih v rest h.1]
-    simp only [length_append_sub, ↓reduceIte]
-     rw [ih v rest h.1]
-    simp only [length_append_sub, ↓reduceIte]
-h    rw [ih v rest h.1]
-    simp only [length_append_sub, ↓reduceIte]
-s    rw [ih v rest h.1]
-    simp only [length_append_sub, ↓reduceIte]
-.    rw [ih v rest h.1]
-    simp only [length_append_sub, ↓reduceIte]
-2    rw [ih v rest h.1]
-    simp only [length_append_sub, ↓reduceIte]
-]    rw [ih v rest h.1]
-    simp only [length_append_sub, ↓reduceIte]
-
-    rw [ih v rest h.1]
-    simp only [length_append_sub, ↓reduceIte]
-     rw [ih v rest h.1]
-    simp only [length_append_sub, ↓reduceIte]
-     rw [ih v rest h.1]
-    simp only [length_append_sub, ↓reduceIte]
-     rw [ih v rest h.1]
-    simp only [length_append_sub, ↓reduceIte]
-     rw [ih v rest h.1]
-    simp only [length_append_sub, ↓reduceIte]
-s    rw [ih v rest h.1]
-    simp only [length_append_sub, ↓reduceIte]
-i    rw [ih v rest h.1]
-    simp only [length_append_sub, ↓reduceIte]
-m    rw [ih v rest h.1]
-    simp only [length_append_sub, ↓reduceIte]
-p    rw [ih v rest h.1]
-    simp only [length_append_sub, ↓reduceIte]
-     rw [ih v rest h.1]
-    simp only [length_append_sub, ↓reduceIte]
-o    rw [ih v rest h.1]
-    simp only [length_append_sub, ↓reduceIte]
-n    rw [ih v rest h.1]
-    simp only [length_append_sub, ↓reduceIte]
-l    rw [ih v rest h.1]
-    simp only [length_append_sub, ↓reduceIte]
-y    rw [ih v rest h.1]
-    simp only [length_append_sub, ↓reduceIte]
-     rw [ih v rest h.1]
-    simp only [length_append_sub, ↓reduceIte]
-[    rw [ih v rest h.1]
-    simp only [length_append_sub, ↓reduceIte]
-m    rw [ih v rest h.1]
-    simp only [length_append_sub, ↓reduceIte]
-a    rw [ih v rest h.1]
-    simp only [length_append_sub, ↓reduceIte]
-p    rw [ih v rest h.1]
-    simp only [length_append_sub, ↓reduceIte]
-F    rw [ih v rest h.1]
-    simp only [length_append_sub, ↓reduceIte]
-s    rw [ih v rest h.1]
-    simp only [length_append_sub, ↓reduceIte]
-t    rw [ih v rest h.1]
-    simp only [length_append_sub, ↓reduceIte]
-,    rw [ih v rest h.1]
-    simp only [length_append_sub, ↓reduceIte]
-     rw [ih v rest h.1]
-    simp only [length_append_sub, ↓reduceIte]
-h    rw [ih v rest h.1]
-    simp only [length_append_sub, ↓reduceIte]
-s    rw [ih v rest h.1]
-    simp only [length_append_sub, ↓reduceIte]
-.    rw [ih v rest h.1]
-    simp only [length_append_sub, ↓reduceIte]
-1    rw [ih v rest h.1]
-    simp only [length_append_sub, ↓reduceIte]
-]    rw [ih v rest h.1]
-    simp only [length_append_sub, ↓reduceIte]
-
-    rw [ih v rest h.1]
-    simp only [length_append_sub, ↓reduceIte]
-     rw [ih v rest h.1]
-    simp only [length_append_sub, ↓reduceIte]
-     rw [ih v rest h.1]
-    simp only [length_append_sub, ↓reduceIte]
-c    rw [ih v rest h.1]
-    simp only [length_append_sub, ↓reduceIte]
-a    rw [ih v rest h.1]
-    simp only [length_append_sub, ↓reduceIte]
-s    rw [ih v rest h.1]
-    simp only [length_append_sub, ↓reduceIte]
-e    rw [ih v rest h.1]
-    simp only [length_append_sub, ↓reduceIte]
-     rw [ih v rest h.1]
-    simp only [length_append_sub, ↓reduceIte]
-i    rw [ih v rest h.1]
-    simp only [length_append_sub, ↓reduceIte]
-6    rw [ih v rest h.1]
-    simp only [length_append_sub, ↓reduceIte]
-4    rw [ih v rest h.1]
-    simp only [length_append_sub, ↓reduceIte]
-a    rw [ih v rest h.1]
-    simp only [length_append_sub, ↓reduceIte]
-r    rw [ih v rest h.1]
-    simp only [length_append_sub, ↓reduceIte]
-r    rw [ih v rest h.1]
-    simp only [length_append_sub, ↓reduceIte]
-.    rw [ih v rest h.1]
-    simp only [length_append_sub, ↓reduceIte]
-l    rw [ih v rest h.1]
-    simp only [length_append_sub, ↓reduceIte]
-i    rw [ih v rest h.1]
-    simp only [length_append_sub, ↓reduceIte]
-s    rw [ih v rest h.1]
-    simp only [length_append_sub, ↓reduceIte]
-t    rw [ih v rest h.1]
-    simp only [length_append_sub, ↓reduceIte]
-     rw [ih v rest h.1]
-    simp only [length_append_sub, ↓reduceIte]
-v    rw [ih v rest h.1]
-    simp only [length_append_sub, ↓reduceIte]
-s    rw [ih v rest h.1]
-    simp only [length_append_sub, ↓reduceIte]
-     rw [ih v rest h.1]
-    simp only [length_append_sub, ↓reduceIte]
-=    rw [ih v rest h.1]
-    simp only [length_append_sub, ↓reduceIte]
->    rw [ih v rest h.1]
-    simp only [length_append_sub, ↓reduceIte]
-
-    rw [ih v rest h.1]
-    simp only [length_append_sub, ↓reduceIte]
-     rw [ih v rest h.1]
-    simp only [length_append_sub, ↓reduceIte]
-     rw [ih v rest h.1]
-    simp only [length_append_sub, ↓reduceIte]
-     rw [ih v rest h.1]
-    simp only [length_append_sub, ↓reduceIte]
-     rw [ih v rest h.1]
-    simp only [length_append_sub, ↓reduceIte]
-h    rw [ih v rest h.1]
-    simp only [length_append_sub, ↓reduceIte]
-a    rw [ih v rest h.1]
-    simp only [length_append_sub, ↓reduceIte]
-v    rw [ih v rest h.1]
-    simp only [length_append_sub, ↓reduceIte]
-e    rw [ih v rest h.1]
-    simp only [length_append_sub, ↓reduceIte]
-     rw [ih v rest h.1]
-    simp only [length_append_sub, ↓reduceIte]
-h    rw [ih v rest h.1]
-    simp only [length_append_sub, ↓reduceIte]
-s    rw [ih v rest h.1]
-    simp only [length_append_sub, ↓reduceIte]
-     rw [ih v rest h.1]
-    simp only [length_append_sub, ↓reduceIte]
-:    rw [ih v rest h.1]
-    simp only [length_append_sub, ↓reduceIte]
-=    rw [ih v rest h.1]
-    simp only [length_append_sub, ↓reduceIte]
-     rw [ih v rest h.1]
-    simp only [length_append_sub, ↓reduceIte]
-a    rw [ih v rest h.1]
-    simp only [length_append_sub, ↓reduceIte]
-l    rw [ih v rest h.1]
-    simp only [length_append_sub, ↓reduceIte]
-l    rw [ih v rest h.1]
-    simp only [length_append_sub, ↓reduceIte]
-I    rw [ih v rest h.1]
-    simp only [length_append_sub, ↓reduceIte]
-n    rw [ih v rest h.1]
-    simp only [length_append_sub, ↓reduceIte]
-t    rw [ih v rest h.1]
-    simp only [length_append_sub, ↓reduceIte]
-_    rw [ih v rest h.1]
-    simp only [length_append_sub, ↓reduceIte]
-s    rw [ih v rest h.1]
-    simp only [length_append_sub, ↓reduceIte]
-p    rw [ih v rest h.1]
-    simp only [length_append_sub, ↓reduceIte]
-e    rw [ih v rest h.1]
-    simp only [length_append_sub, ↓reduceIte]
-c    rw [ih v rest h.1]
-    simp only [length_append_sub, ↓reduceIte]
-     rw [ih v rest h.1]
-    simp only [length_append_sub, ↓reduceIte]
-8    rw [ih v rest h.1]
-    simp only [length_append_sub, ↓reduceIte]
-     rw [ih v rest h.1]
-    simp only [length_append_sub, ↓reduceIte]
-v    rw [ih v rest h.1]
-    simp only [length_append_sub, ↓reduceIte]
-s    rw [ih v rest h.1]
-    simp only [length_append_sub, ↓reduceIte]
-     rw [ih v rest h.1]
-    simp only [length_append_sub, ↓reduceIte]
-h    rw [ih v rest h.1]
-    simp only [length_append_sub, ↓reduceIte]
-.    rw [ih v rest h.1]
-    simp only [length_append_sub, ↓reduceIte]
-2    rw [ih v rest h.1]
-    simp only [length_append_sub, ↓reduceIte]
-
-    rw [ih v rest h.1]
-    simp only [length_append_sub, ↓reduceIte]
-     rw [ih v rest h.1]
-    simp only [length_append_sub, ↓reduceIte]
-     rw [ih v rest h.1]
-    simp only [length_append_sub, ↓reduceIte]
-     rw [ih v rest h.1]
-    simp only [length_append_sub, ↓reduceIte]
-     rw [ih v rest h.1]
-    simp only [length_append_sub, ↓reduceIte]
-r    rw [ih v rest h.1]
-    simp only [length_append_sub, ↓reduceIte]
-w    rw [ih v rest h.1]
-    simp only [length_append_sub, ↓reduceIte]
-     rw [ih v rest h.1]
-    simp only [length_append_sub, ↓reduceIte]
-[    rw [ih v rest h.1]
-    simp only [length_append_sub, ↓reduceIte]
-g    rw [ih v rest h.1]
-    simp only [length_append_sub, ↓reduceIte]
-e    rw [ih v rest h.1]
-    simp only [length_append_sub, ↓reduceIte]
-t    rw [ih v rest h.1]
-    simp only [length_append_sub, ↓reduceIte]
-I    rw [ih v rest h.1]
-    simp only [length_append_sub, ↓reduceIte]
-n    rw [ih v rest h.1]
-    simp only [length_append_sub, ↓reduceIte]
-t    rw [ih v rest h.1]
-    simp only [length_append_sub, ↓reduceIte]
-A    rw [ih v rest h.1]
-    simp only [length_append_sub, ↓reduceIte]
-r    rw [ih v rest h.1]
-    simp only [length_append_sub, ↓reduceIte]
-r    rw [ih v rest h.1]
-    simp only [length_append_sub, ↓reduceIte]
-a    rw [ih v rest h.1]
-    simp only [length_append_sub, ↓reduceIte]
-y    rw [ih v rest h.1]
-    simp only [length_append_sub, ↓reduceIte]
-_    rw [ih v rest h.1]
-    simp only [length_append_sub, ↓reduceIte]
-p    rw [ih v rest h.1]
-    simp only [length_append_sub, ↓reduceIte]
-u    rw [ih v rest h.1]
-    simp only [length_append_sub, ↓reduceIte]
-t    rw [ih v rest h.1]
-    simp only [length_append_sub, ↓reduceIte]
-     rw [ih v rest h.1]
-    simp only [length_append_sub, ↓reduceIte]
-8    rw [ih v rest h.1]
-    simp only [length_append_sub, ↓reduceIte]
-     rw [ih v rest h.1]
-    simp only [length_append_sub, ↓reduceIte]
-(    rw [ih v rest h.1]
-    simp only [length_append_sub, ↓reduceIte]
-b    rw [ih v rest h.1]
-    simp only [length_append_sub, ↓reduceIte]
-y    rw [ih v rest h.1]
-    simp only [length_append_sub, ↓reduceIte]
-     rw [ih v rest h.1]
-    simp only [length_append_sub, ↓reduceIte]
-d    rw [ih v rest h.1]
-    simp only [length_append_sub, ↓reduceIte]
-e    rw [ih v rest h.1]
-    simp only [length_append_sub, ↓reduceIte]
-c    rw [ih v rest h.1]
-    simp only [length_append_sub, ↓reduceIte]
-i    rw [ih v rest h.1]
-    simp only [length_append_sub, ↓reduceIte]
-d    rw [ih v rest h.1]
-    simp only [length_append_sub, ↓reduceIte]
-e    rw [ih v rest h.1]
-    simp only [length_append_sub, ↓reduceIte]
-)    rw [ih v rest h.1]
-    simp only [length_append_sub, ↓reduceIte]
-     rw [ih v rest h.1]
-    simp only [length_append_sub, ↓reduceIte]
-_    rw [ih v rest h.1]
-    simp only [length_append_sub, ↓reduceIte]
-     rw [ih v rest h.1]
-    simp only [length_append_sub, ↓reduceIte]
-r    rw [ih v rest h.1]
-    simp only [length_append_sub, ↓reduceIte]
-e    rw [ih v rest h.1]
-    simp only [length_append_sub, ↓reduceIte]
-s    rw [ih v rest h.1]
-    simp only [length_append_sub, ↓reduceIte]
-t    rw [ih v rest h.1]
-    simp only [length_append_sub, ↓reduceIte]
-     rw [ih v rest h.1]
-    simp only [length_append_sub, ↓reduceIte]
-(    rw [ih v rest h.1]
-    simp only [length_append_sub, ↓reduceIte]
-b    rw [ih v rest h.1]
-    simp only [length_append_sub, ↓reduceIte]
-y    rw [ih v rest h.1]
-    simp only [length_append_sub, ↓reduceIte]
-     rw [ih v rest h.1]
-    simp only [length_append_sub, ↓reduceIte]
-r    rw [ih v rest h.1]
-    simp only [length_append_sub, ↓reduceIte]
-w    rw [ih v rest h.1]
-    simp only [length_append_sub, ↓reduceIte]
-     rw [ih v rest h.1]
-    simp only [length_append_sub, ↓reduceIte]
-[    rw [ih v rest h.1]
-    simp only [length_append_sub, ↓reduceIte]
-i    rw [ih v rest h.1]
-    simp only [length_append_sub, ↓reduceIte]
-n    rw [ih v rest h.1]
-    simp only [length_append_sub, ↓reduceIte]
-t    rw [ih v rest h.1]
-    simp only [length_append_sub, ↓reduceIte]
-s    rw [ih v rest h.1]
-    simp only [length_append_sub, ↓reduceIte]
-O    rw [ih v rest h.1]
-    simp only [length_append_sub, ↓reduceIte]
-f    rw [ih v rest h.1]
-    simp only [length_append_sub, ↓reduceIte]
-_    rw [ih v rest h.1]
-    simp only [length_append_sub, ↓reduceIte]
-l    rw [ih v rest h.1]
-    simp only [length_append_sub, ↓reduceIte]
-e    rw [ih v rest h.1]
-    simp only [length_append_sub, ↓reduceIte]
-n    rw [ih v rest h.1]
-    simp only [length_append_sub, ↓reduceIte]
-g    rw [ih v rest h.1]
-    simp only [length_append_sub, ↓reduceIte]
-t    rw [ih v rest h.1]
-    simp only [length_append_sub, ↓reduceIte]
-h    rw [ih v rest h.1]
-    simp only [length_append_sub, ↓reduceIte]
-]    rw [ih v rest h.1]
-    simp only [length_append_sub, ↓reduceIte]
-;    rw [ih v rest h.1]
-    simp only [length_append_sub, ↓reduceIte]
-     rw [ih v rest h.1]
-    simp only [length_append_sub, ↓reduceIte]
-e    rw [ih v rest h.1]
-    simp only [length_append_sub, ↓reduceIte]
-x    rw [ih v rest h.1]
-    simp only [length_append_sub, ↓reduceIte]
-a    rw [ih v rest h.1]
-    simp only [length_append_sub, ↓reduceIte]
-c    rw [ih v rest h.1]
-    simp only [length_append_sub, ↓reduceIte]
-t    rw [ih v rest h.1]
-    simp only [length_append_sub, ↓reduceIte]
-     rw [ih v rest h.1]
-    simp only [length_append_sub, ↓reduceIte]
-h    rw [ih v rest h.1]
-    simp only [length_append_sub, ↓reduceIte]
-.    rw [ih v rest h.1]
-    simp only [length_append_sub, ↓reduceIte]
-1    rw [ih v rest h.1]
-    simp only [length_append_sub, ↓reduceIte]
-)    rw [ih v rest h.1]
-    simp only [length_append_sub, ↓reduceIte]
-     rw [ih v rest h.1]
-    simp only [length_append_sub, ↓reduceIte]
-h    rw [ih v rest h.1]
-    simp only [length_append_sub, ↓reduceIte]
-s    rw [ih v rest h.1]
-    simp only [length_append_sub, ↓reduceIte]
-.    rw [ih v rest h.1]
-    simp only [length_append_sub, ↓reduceIte]
-2    rw [ih v rest h.1]
-    simp only [length_append_sub, ↓reduceIte]
-]    rw [ih v rest h.1]
-    simp only [length_append_sub, ↓reduceIte]
-
-    rw [ih v rest h.1]
-    simp only [length_append_sub, ↓reduceIte]
-     rw [ih v rest h.1]
-    simp only [length_append_sub, ↓reduceIte]
-     rw [ih v rest h.1]
-    simp only [length_append_sub, ↓reduceIte]
-     rw [ih v rest h.1]
-    simp only [length_append_sub, ↓reduceIte]
-     rw [ih v rest h.1]
-    simp only [length_append_sub, ↓reduceIte]
-s    rw [ih v rest h.1]
-    simp only [length_append_sub, ↓reduceIte]
-i    rw [ih v rest h.1]
-    simp only [length_append_sub, ↓reduceIte]
-m    rw [ih v rest h.1]
-    simp only [length_append_sub, ↓reduceIte]
-p    rw [ih v rest h.1]
-    simp only [length_append_sub, ↓reduceIte]
-     rw [ih v rest h.1]
-    simp only [length_append_sub, ↓reduceIte]
-o    rw [ih v rest h.1]
-    simp only [length_append_sub, ↓reduceIte]
-n    rw [ih v rest h.1]
-    simp only [length_append_sub, ↓reduceIte]
-l    rw [ih v rest h.1]
-    simp only [length_append_sub, ↓reduceIte]
-y    rw [ih v rest h.1]
-    simp only [length_append_sub, ↓reduceIte]
-     rw [ih v rest h.1]
-    simp only [length_append_sub, ↓reduceIte]
-[    rw [ih v rest h.1]
-    simp only [length_append_sub, ↓reduceIte]
-m    rw [ih v rest h.1]
-    simp only [length_append_sub, ↓reduceIte]
-a    rw [ih v rest h.1]
-    simp only [length_append_sub, ↓reduceIte]
-p    rw [ih v rest h.1]
-    simp only [length_append_sub, ↓reduceIte]
-F    rw [ih v rest h.1]
-    simp only [length_append_sub, ↓reduceIte]
-s    rw [ih v rest h.1]
-    simp only [length_append_sub, ↓reduceIte]
-t    rw [ih v rest h.1]
-    simp only [length_append_sub, ↓reduceIte]
-,    rw [ih v rest h.1]
-    simp only [length_append_sub, ↓reduceIte]
-     rw [ih v rest h.1]
-    simp only [length_append_sub, ↓reduceIte]
-h    rw [ih v rest h.1]
-    simp only [length_append_sub, ↓reduceIte]
-s    rw [ih v rest h.1]
-    simp only [length_append_sub, ↓reduceIte]
-.    rw [ih v rest h.1]
-    simp only [length_append_sub, ↓reduceIte]
-1    rw [ih v rest h.1]
-    simp only [length_append_sub, ↓reduceIte]
-]    rw [ih v rest h.1]
-    simp only [length_append_sub, ↓reduceIte]
-
-    rw [ih v rest h.1]
-    simp only [length_append_sub, ↓reduceIte]
-     rw [ih v rest h.1]
-    simp only [length_append_sub, ↓reduceIte]
-     rw [ih v rest h.1]
-    simp only [length_append_sub, ↓reduceIte]
-c    rw [ih v rest h.1]
-    simp only [length_append_sub, ↓reduceIte]
-a    rw [ih v rest h.1]
-    simp only [length_append_sub, ↓reduceIte]
-s    rw [ih v rest h.1]
-    simp only [length_append_sub, ↓reduceIte]
-e    rw [ih v rest h.1]
-    simp only [length_append_sub, ↓reduceIte]
-     rw [ih v rest h.1]
-    simp only [length_append_sub, ↓reduceIte]
-c    rw [ih v rest h.1]
-    simp only [length_append_sub, ↓reduceIte]
-i    rw [ih v rest h.1]
-    simp only [length_append_sub, ↓reduceIte]
-3    rw [ih v rest h.1]
-    simp only [length_append_sub, ↓reduceIte]
-2    rw [ih v rest h.1]
-    simp only [length_append_sub, ↓reduceIte]
-a    rw [ih v rest h.1]
-    simp only [length_append_sub, ↓reduceIte]
-r    rw [ih v rest h.1]
-    simp only [length_append_sub, ↓reduceIte]
-r    rw [ih v rest h.1]
-    simp only [length_append_sub, ↓reduceIte]
-.    rw [ih v rest h.1]
-    simp only [length_append_sub, ↓reduceIte]
-l    rw [ih v rest h.1]
-    simp only [length_append_sub, ↓reduceIte]
-i    rw [ih v rest h.1]
-    simp only [length_append_sub, ↓reduceIte]
-s    rw [ih v rest h.1]
-    simp only [length_append_sub, ↓reduceIte]
-t    rw [ih v rest h.1]
-    simp only [length_append_sub, ↓reduceIte]
-     rw [ih v rest h.1]
-    simp only [length_append_sub, ↓reduceIte]
-v    rw [ih v rest h.1]
-    simp only [length_append_sub, ↓reduceIte]
-s    rw [ih v rest h.1]
-    simp only [length_append_sub, ↓reduceIte]
-     rw [ih v rest h.1]
-    simp only [length_append_sub, ↓reduceIte]
-=    rw [ih v rest h.1]
-    simp only [length_append_sub, ↓reduceIte]
->    rw [ih v rest h.1]
-    simp only [length_append_sub, ↓reduceIte]
-
-    rw [ih v rest h.1]
-    simp only [length_append_sub, ↓reduceIte]
-     rw [ih v rest h.1]
-    simp only [length_append_sub, ↓reduceIte]
-     rw [ih v rest h.1]
-    simp only [length_append_sub, ↓reduceIte]
-     rw [ih v rest h.1]
-    simp only [length_append_sub, ↓reduceIte]
-     rw [ih v rest h.1]
-    simp only [length_append_sub, ↓reduceIte]
-h    rw [ih v rest h.1]
-    simp only [length_append_sub, ↓reduceIte]
-a    rw [ih v rest h.1]
-    simp only [length_append_sub, ↓reduceIte]
-v    rw [ih v rest h.1]
-    simp only [length_append_sub, ↓reduceIte]
-e    rw [ih v rest h.1]
-    simp only [length_append_sub, ↓reduceIte]
-     rw [ih v rest h.1]
-    simp only [length_append_sub, ↓reduceIte]
-h    rw [ih v rest h.1]
-    simp only [length_append_sub, ↓reduceIte]
-s    rw [ih v rest h.1]
-    simp only [length_append_sub, ↓reduceIte]
-     rw [ih v rest h.1]
-    simp only [length_append_sub, ↓reduceIte]
-:    rw [ih v rest h.1]
-    simp only [length_append_sub, ↓reduceIte]
-=    rw [ih v rest h.1]
-    simp only [length_append_sub, ↓reduceIte]
-     rw [ih v rest h.1]
-    simp only [length_append_sub, ↓reduceIte]
-a    rw [ih v rest h.1]
-    simp only [length_append_sub, ↓reduceIte]
-l    rw [ih v rest h.1]
-    simp only [length_append_sub, ↓reduceIte]
-l    rw [ih v rest h.1]
-    simp only [length_append_sub, ↓reduceIte]
-I    rw [ih v rest h.1]
-    simp only [length_append_sub, ↓reduceIte]
-n    rw [ih v rest h.1]
-    simp only [length_append_sub, ↓reduceIte]
-t    rw [ih v rest h.1]
-    simp only [length_append_sub, ↓reduceIte]
-_    rw [ih v rest h.1]
-    simp only [length_append_sub, ↓reduceIte]
-s    rw [ih v rest h.1]
-    simp only [length_append_sub, ↓reduceIte]
-p    rw [ih v rest h.1]
-    simp only [length_append_sub, ↓reduceIte]
-e    rw [ih v rest h.1]
-    simp only [length_append_sub, ↓reduceIte]
-c    rw [ih v rest h.1]
-    simp only [length_append_sub, ↓reduceIte]
-     rw [ih v rest h.1]
-    simp only [length_append_sub, ↓reduceIte]
-4    rw [ih v rest h.1]
-    simp only [length_append_sub, ↓reduceIte]
-     rw [ih v rest h.1]
-    simp only [length_append_sub, ↓reduceIte]
-v    rw [ih v rest h.1]
-    simp only [length_append_sub, ↓reduceIte]
-s    rw [ih v rest h.1]
-    simp only [length_append_sub, ↓reduceIte]
-     rw [ih v rest h.1]
-    simp only [length_append_sub, ↓reduceIte]
-h    rw [ih v rest h.1]
-    simp only [length_append_sub, ↓reduceIte]
-.    rw [ih v rest h.1]
-    simp only [length_append_sub, ↓reduceIte]
-2    rw [ih v rest h.1]
-    simp only [length_append_sub, ↓reduceIte]
-
-    rw [ih v rest h.1]
-    simp only [length_append_sub, ↓reduceIte]
-     rw [ih v rest h.1]
-    simp only [length_append_sub, ↓reduceIte]
-     rw [ih v rest h.1]
-    simp only [length_append_sub, ↓reduceIte]
-     rw [ih v rest h.1]
-    simp only [length_append_sub, ↓reduceIte]
-     rw [ih v rest h.1]
-    simp only [length_append_sub, ↓reduceIte]
-r    rw [ih v rest h.1]
-    simp only [length_append_sub, ↓reduceIte]
-w    rw [ih v rest h.1]
-    simp only [length_append_sub, ↓reduceIte]
-     rw [ih v rest h.1]
-    simp only [length_append_sub, ↓reduceIte]
-[    rw [ih v rest h.1]
-    simp only [length_append_sub, ↓reduceIte]
-g    rw [ih v rest h.1]
-    simp only [length_append_sub, ↓reduceIte]
-e    rw [ih v rest h.1]
-    simp only [length_append_sub, ↓reduceIte]
-t    rw [ih v rest h.1]
-    simp only [length_append_sub, ↓reduceIte]
-C    rw [ih v rest h.1]
-    simp only [length_append_sub, ↓reduceIte]
-o    rw [ih v rest h.1]
-    simp only [length_append_sub, ↓reduceIte]
-m    rw [ih v rest h.1]
-    simp only [length_append_sub, ↓reduceIte]
-p    rw [ih v rest h.1]
-    simp only [length_append_sub, ↓reduceIte]
-a    rw [ih v rest h.1]
-    simp only [length_append_sub, ↓reduceIte]
-c    rw [ih v rest h.1]
-    simp only [length_append_sub, ↓reduceIte]
-t    rw [ih v rest h.1]
-    simp only [length_append_sub, ↓reduceIte]
-I    rw [ih v rest h.1]
-    simp only [length_append_sub, ↓reduceIte]
-n    rw [ih v rest h.1]
-    simp only [length_append_sub, ↓reduceIte]
-t    rw [ih v rest h.1]
-    simp only [length_append_sub, ↓reduceIte]
-3    rw [ih v rest h.1]
-    simp only [length_append_sub, ↓reduceIte]
-2    rw [ih v rest h.1]
-    simp only [length_append_sub, ↓reduceIte]
-A    rw [ih v rest h.1]
-    simp only [length_append_sub, ↓reduceIte]
-r    rw [ih v rest h.1]
-    simp only [length_append_sub, ↓reduceIte]
-r    rw [ih v rest h.1]
-    simp only [length_append_sub, ↓reduceIte]
-a    rw [ih v rest h.1]
-    simp only [length_append_sub, ↓reduceIte]
-y    rw [ih v rest h.1]
-    simp only [length_append_sub, ↓reduceIte]
-_    rw [ih v rest h.1]
-    simp only [length_append_sub, ↓reduceIte]
-p    rw [ih v rest h.1]
-    simp only [length_append_sub, ↓reduceIte]
-u    rw [ih v rest h.1]
-    simp only [length_append_sub, ↓reduceIte]
-t    rw [ih v rest h.1]
-    simp only [length_append_sub, ↓reduceIte]
-     rw [ih v rest h.1]
-    simp only [length_append_sub, ↓reduceIte]
-_    rw [ih v rest h.1]
-    simp only [length_append_sub, ↓reduceIte]
-     rw [ih v rest h.1]
-    simp only [length_append_sub, ↓reduceIte]
-r    rw [ih v rest h.1]
-    simp only [length_append_sub, ↓reduceIte]
-e    rw [ih v rest h.1]
-    simp only [length_append_sub, ↓reduceIte]
-s    rw [ih v rest h.1]
-    simp only [length_append_sub, ↓reduceIte]
-t    rw [ih v rest h.1]
-    simp only [length_append_sub, ↓reduceIte]
-     rw [ih v rest h.1]
-    simp only [length_append_sub, ↓reduceIte]
-(    rw [ih v rest h.1]
-    simp only [length_append_sub, ↓reduceIte]
-b    rw [ih v rest h.1]
-    simp only [length_append_sub, ↓reduceIte]
-y    rw [ih v rest h.1]
-    simp only [length_append_sub, ↓reduceIte]
-     rw [ih v rest h.1]
-    simp only [length_append_sub, ↓reduceIte]
-r    rw [ih v rest h.1]
-    simp only [length_append_sub, ↓reduceIte]
-w    rw [ih v rest h.1]
-    simp only [length_append_sub, ↓reduceIte]
-     rw [ih v rest h.1]
-    simp only [length_append_sub, ↓reduceIte]
-[    rw [ih v rest h.1]
-    simp only [length_append_sub, ↓reduceIte]
-i    rw [ih v rest h.1]
-    simp only [length_append_sub, ↓reduceIte]
-n    rw [ih v rest h.1]
-    simp only [length_append_sub, ↓reduceIte]
-t    rw [ih v rest h.1]
-    simp only [length_append_sub, ↓reduceIte]
-s    rw [ih v rest h.1]
-    simp only [length_append_sub, ↓reduceIte]
-O    rw [ih v rest h.1]
-    simp only [length_append_sub, ↓reduceIte]
-f    rw [ih v rest h.1]
-    simp only [length_append_sub, ↓reduceIte]
-_    rw [ih v rest h.1]
-    simp only [length_append_sub, ↓reduceIte]
-l    rw [ih v rest h.1]
-    simp only [length_append_sub, ↓reduceIte]
-e    rw [ih v rest h.1]
-    simp only [length_append_sub, ↓reduceIte]
-n    rw [ih v rest h.1]
-    simp only [length_append_sub, ↓reduceIte]
-g    rw [ih v rest h.1]
-    simp only [length_append_sub, ↓reduceIte]
-t    rw [ih v rest h.1]
-    simp only [length_append_sub, ↓reduceIte]
-h    rw [ih v rest h.1]
-    simp only [length_append_sub, ↓reduceIte]
-]    rw [ih v rest h.1]
-    simp only [length_append_sub, ↓reduceIte]
-;    rw [ih v rest h.1]
-    simp only [length_append_sub, ↓reduceIte]
-     rw [ih v rest h.1]
-    simp only [length_append_sub, ↓reduceIte]
-e    rw [ih v rest h.1]
-    simp only [length_append_sub, ↓reduceIte]
-x    rw [ih v rest h.1]
-    simp only [length_append_sub, ↓reduceIte]
-a    rw [ih v rest h.1]
-    simp only [length_append_sub, ↓reduceIte]
-c    rw [ih v rest h.1]
-    simp only [length_append_sub, ↓reduceIte]
-t    rw [ih v rest h.1]
-    simp only [length_append_sub, ↓reduceIte]
-     rw [ih v rest h.1]
-    simp only [length_append_sub, ↓reduceIte]
-h    rw [ih v rest h.1]
-    simp only [length_append_sub, ↓reduceIte]
-.    rw [ih v rest h.1]
-    simp only [length_append_sub, ↓reduceIte]
-1    rw [ih v rest h.1]
-    simp only [length_append_sub, ↓reduceIte]
-)    rw [ih v rest h.1]
-    simp only [length_append_sub, ↓reduceIte]
-     rw [ih v rest h.1]
-    simp only [length_append_sub, ↓reduceIte]
-h    rw [ih v rest h.1]
-    simp only [length_append_sub, ↓reduceIte]
-s    rw [ih v rest h.1]
-    simp only [length_append_sub, ↓reduceIte]
-.    rw [ih v rest h.1]
-    simp only [length_append_sub, ↓reduceIte]
-2    rw [ih v rest h.1]
-    simp only [length_append_sub, ↓reduceIte]
-]    rw [ih v rest h.1]
-    simp only [length_append_sub, ↓reduceIte]
-
-    rw [ih v rest h.1]
-    simp only [length_append_sub, ↓reduceIte]
-     rw [ih v rest h.1]
-    simp only [length_append_sub, ↓reduceIte]
-     rw [ih v rest h.1]
-    simp only [length_append_sub, ↓reduceIte]
-     rw [ih v rest h.1]
-    simp only [length_append_sub, ↓reduceIte]
-     rw [ih v rest h.1]
-    simp only [length_append_sub, ↓reduceIte]
-s    rw [ih v rest h.1]
-    simp only [length_append_sub, ↓reduceIte]
-i    rw [ih v rest h.1]
-    simp only [length_append_sub, ↓reduceIte]
-m    rw [ih v rest h.1]
-    simp only [length_append_sub, ↓reduceIte]
-p    rw [ih v rest h.1]
-    simp only [length_append_sub, ↓reduceIte]
-     rw [ih v rest h.1]
-    simp only [length_append_sub, ↓reduceIte]
-o    rw [ih v rest h.1]
-    simp only [length_append_sub, ↓reduceIte]
-n    rw [ih v rest h.1]
-    simp only [length_append_sub, ↓reduceIte]
-l    rw [ih v rest h.1]
-    simp only [length_append_sub, ↓reduceIte]
-y    rw [ih v rest h.1]
-    simp only [length_append_sub, ↓reduceIte]
-     rw [ih v rest h.1]
-    simp only [length_append_sub, ↓reduceIte]
-[    rw [ih v rest h.1]
-    simp only [length_append_sub, ↓reduceIte]
-m    rw [ih v rest h.1]
-    simp only [length_append_sub, ↓reduceIte]
-a    rw [ih v rest h.1]
-    simp only [length_append_sub, ↓reduceIte]
-p    rw [ih v rest h.1]
-    simp only [length_append_sub, ↓reduceIte]
-F    rw [ih v rest h.1]
-    simp only [length_append_sub, ↓reduceIte]
-s    rw [ih v rest h.1]
-    simp only [length_append_sub, ↓reduceIte]
-t    rw [ih v rest h.1]
-    simp only [length_append_sub, ↓reduceIte]
-,    rw [ih v rest h.1]
-    simp only [length_append_sub, ↓reduceIte]
-     rw [ih v rest h.1]
-    simp only [length_append_sub, ↓reduceIte]
-h    rw [ih v rest h.1]
-    simp only [length_append_sub, ↓reduceIte]
-s    rw [ih v rest h.1]
-    simp only [length_append_sub, ↓reduceIte]
-.    rw [ih v rest h.1]
-    simp only [length_append_sub, ↓reduceIte]
-1    rw [ih v rest h.1]
-    simp only [length_append_sub, ↓reduceIte]
-]    rw [ih v rest h.1]
-    simp only [length_append_sub, ↓reduceIte]
-
-    rw [ih v rest h.1]
-    simp only [length_append_sub, ↓reduceIte]
-     rw [ih v rest h.1]
-    simp only [length_append_sub, ↓reduceIte]
-     rw [ih v rest h.1]
-    simp only [length_append_sub, ↓reduceIte]
-c    rw [ih v rest h.1]
-    simp only [length_append_sub, ↓reduceIte]
-a    rw [ih v rest h.1]
-    simp only [length_append_sub, ↓reduceIte]
-s    rw [ih v rest h.1]
-    simp only [length_append_sub, ↓reduceIte]
-e    rw [ih v rest h.1]
-    simp only [length_append_sub, ↓reduceIte]
-     rw [ih v rest h.1]
-    simp only [length_append_sub, ↓reduceIte]
-n    rw [ih v rest h.1]
-    simp only [length_append_sub, ↓reduceIte]
-c    rw [ih v rest h.1]
-    simp only [length_append_sub, ↓reduceIte]
-i    rw [ih v rest h.1]
-    simp only [length_append_sub, ↓reduceIte]
-3    rw [ih v rest h.1]
-    simp only [length_append_sub, ↓reduceIte]
-2    rw [ih v rest h.1]
-    simp only [length_append_sub, ↓reduceIte]
-a    rw [ih v rest h.1]
-    simp only [length_append_sub, ↓reduceIte]
-r    rw [ih v rest h.1]
-    simp only [length_append_sub, ↓reduceIte]
-r    rw [ih v rest h.1]
-    simp only [length_append_sub, ↓reduceIte]
-.    rw [ih v rest h.1]
-    simp only [length_append_sub, ↓reduceIte]
-l    rw [ih v rest h.1]
-    simp only [length_append_sub, ↓reduceIte]
-i    rw [ih v rest h.1]
-    simp only [length_append_sub, ↓reduceIte]
-s    rw [ih v rest h.1]
-    simp only [length_append_sub, ↓reduceIte]
-t    rw [ih v rest h.1]
-    simp only [length_append_sub, ↓reduceIte]
-     rw [ih v rest h.1]
-    simp only [length_append_sub, ↓reduceIte]
-v    rw [ih v rest h.1]
-    simp only [length_append_sub, ↓reduceIte]
-s    rw [ih v rest h.1]
-    simp only [length_append_sub, ↓reduceIte]
-     rw [ih v rest h.1]
-    simp only [length_append_sub, ↓reduceIte]
-=    rw [ih v rest h.1]
-    simp only [length_append_sub, ↓reduceIte]
->    rw [ih v rest h.1]
-    simp only [length_append_sub, ↓reduceIte]
-
-    rw [ih v rest h.1]
-    simp only [length_append_sub, ↓reduceIte]
-     rw [ih v rest h.1]
-    simp only [length_append_sub, ↓reduceIte]
-     rw [ih v rest h.1]
-    simp only [length_append_sub, ↓reduceIte]
-     rw [ih v rest h.1]
-    simp only [length_append_sub, ↓reduceIte]
-     rw [ih v rest h.1]
-    simp only [length_append_sub, ↓reduceIte]
-h    rw [ih v rest h.1]
-    simp only [length_append_sub, ↓reduceIte]
-a    rw [ih v rest h.1]
-    simp only [length_append_sub, ↓reduceIte]
-v    rw [ih v rest h.1]
-    simp only [length_append_sub, ↓reduceIte]
-e    rw [ih v rest h.1]
-    simp only [length_append_sub, ↓reduceIte]
-     rw [ih v rest h.1]
-    simp only [length_append_sub, ↓reduceIte]
-h    rw [ih v rest h.1]
-    simp only [length_append_sub, ↓reduceIte]
-s    rw [ih v rest h.1]
-    simp only [length_append_sub, ↓reduceIte]
-     rw [ih v rest h.1]
-    simp only [length_append_sub, ↓reduceIte]
-:    rw [ih v rest h.1]
-    simp only [length_append_sub, ↓reduceIte]
-=    rw [ih v rest h.1]
-    simp only [length_append_sub, ↓reduceIte]
-     rw [ih v rest h.1]
-    simp only [length_append_sub, ↓reduceIte]
-a    rw [ih v rest h.1]
-    simp only [length_append_sub, ↓reduceIte]
-l    rw [ih v rest h.1]
-    simp only [length_append_sub, ↓reduceIte]
-l    rw [ih v rest h.1]
-    simp only [length_append_sub, ↓reduceIte]
-I    rw [ih v rest h.1]
-    simp only [length_append_sub, ↓reduceIte]
-n    rw [ih v rest h.1]
-    simp only [length_append_sub, ↓reduceIte]
-t    rw [ih v rest h.1]
-    simp only [length_append_sub, ↓reduceIte]
-_    rw [ih v rest h.1]
-    simp only [length_append_sub, ↓reduceIte]
-s    rw [ih v rest h.1]
-    simp only [length_append_sub, ↓reduceIte]
-p    rw [ih v rest h.1]
-    simp only [length_append_sub, ↓reduceIte]
-e    rw [ih v rest h.1]
-    simp only [length_append_sub, ↓reduceIte]
-c    rw [ih v rest h.1]
-    simp only [length_append_sub, ↓reduceIte]
-     rw [ih v rest h.1]
-    simp only [length_append_sub, ↓reduceIte]
-4    rw [ih v rest h.1]
-    simp only [length_append_sub, ↓reduceIte]
-     rw [ih v rest h.1]
-    simp only [length_append_sub, ↓reduceIte]
-v    rw [ih v rest h.1]
-    simp only [length_append_sub, ↓reduceIte]
-s    rw [ih v rest h.1]
-    simp only [length_append_sub, ↓reduceIte]
-     rw [ih v rest h.1]
-    simp only [length_append_sub, ↓reduceIte]
-h    rw [ih v rest h.1]
-    simp only [length_append_sub, ↓reduceIte]
-.    rw [ih v rest h.1]
-    simp only [length_append_sub, ↓reduceIte]
-2    rw [ih v rest h.1]
-    simp only [length_append_sub, ↓reduceIte]
-
-    rw [ih v rest h.1]
-    simp only [length_append_sub, ↓reduceIte]
-     rw [ih v rest h.1]
-    simp only [length_append_sub, ↓reduceIte]
-     rw [ih v rest h.1]
-    simp only [length_append_sub, ↓reduceIte]
-     rw [ih v rest h.1]
-    simp only [length_append_sub, ↓reduceIte]
-     rw [ih v rest h.1]
-    simp only [length_append_sub, ↓reduceIte]
-r    rw [ih v rest h.1]
-    simp only [length_append_sub, ↓reduceIte]
-w    rw [ih v rest h.1]
-    simp only [length_append_sub, ↓reduceIte]
-     rw [ih v rest h.1]
-    simp only [length_append_sub, ↓reduceIte]
-[    rw [ih v rest h.1]
-    simp only [length_append_sub, ↓reduceIte]
-g    rw [ih v rest h.1]
-    simp only [length_append_sub, ↓reduceIte]
-e    rw [ih v rest h.1]
-    simp only [length_append_sub, ↓reduceIte]
-t    rw [ih v rest h.1]
-    simp only [length_append_sub, ↓reduceIte]
-C    rw [ih v rest h.1]
-    simp only [length_append_sub, ↓reduceIte]
-o    rw [ih v rest h.1]
-    simp only [length_append_sub, ↓reduceIte]
-m    rw [ih v rest h.1]
-    simp only [length_append_sub, ↓reduceIte]
-p    rw [ih v rest h.1]
-    simp only [length_append_sub, ↓reduceIte]
-a    rw [ih v rest h.1]
-    simp only [length_append_sub, ↓reduceIte]
-c    rw [ih v rest h.1]
-    simp only [length_append_sub, ↓reduceIte]
-t    rw [ih v rest h.1]
-    simp only [length_append_sub, ↓reduceIte]
-I    rw [ih v rest h.1]
-    simp only [length_append_sub, ↓reduceIte]
-n    rw [ih v rest h.1]
-    simp only [length_append_sub, ↓reduceIte]
-t    rw [ih v rest h.1]
-    simp only [length_append_sub, ↓reduceIte]
-3    rw [ih v rest h.1]
-    simp only [length_append_sub, ↓reduceIte]
-2    rw [ih v rest h.1]
-    simp only [length_append_sub, ↓reduceIte]
-A    rw [ih v rest h.1]
-    simp only [length_append_sub, ↓reduceIte]
-r    rw [ih v rest h.1]
-    simp only [length_append_sub, ↓reduceIte]
-r    rw [ih v rest h.1]
-    simp only [length_append_sub, ↓reduceIte]
-a    rw [ih v rest h.1]
-    simp only [length_append_sub, ↓reduceIte]
-y    rw [ih v rest h.1]
-    simp only [length_append_sub, ↓reduceIte]
-_    rw [ih v rest h.1]
-    simp only [length_append_sub, ↓reduceIte]
-p    rw [ih v rest h.1]
-    simp only [length_append_sub, ↓reduceIte]
-u    rw [ih v rest h.1]
-    simp only [length_append_sub, ↓reduceIte]
-t    rw [ih v rest h.1]
-    simp only [length_append_sub, ↓reduceIte]
-N    rw [ih v rest h.1]
-    simp only [length_append_sub, ↓reduceIte]
-u    rw [ih v rest h.1]
-    simp only [length_append_sub, ↓reduceIte]
-l    rw [ih v rest h.1]
-    simp only [length_append_sub, ↓reduceIte]
-l    rw [ih v rest h.1]
-    simp only [length_append_sub, ↓reduceIte]
-a    rw [ih v rest h.1]
-    simp only [length_append_sub, ↓reduceIte]
-b    rw [ih v rest h.1]
-    simp only [length_append_sub, ↓reduceIte]
-l    rw [ih v rest h.1]
-    simp only [length_append_sub, ↓reduceIte]
-e    rw [ih v rest h.1]
-    simp only [length_append_sub, ↓reduceIte]
-     rw [ih v rest h.1]
-    simp only [length_append_sub, ↓reduceIte]
-(    rw [ih v rest h.1]
-    simp only [length_append_sub, ↓reduceIte]
-s    rw [ih v rest h.1]
-    simp only [length_append_sub, ↓reduceIte]
-o    rw [ih v rest h.1]
-    simp only [length_append_sub, ↓reduceIte]
-m    rw [ih v rest h.1]
-    simp only [length_append_sub, ↓reduceIte]
-e    rw [ih v rest h.1]
-    simp only [length_append_sub, ↓reduceIte]
-     rw [ih v rest h.1]
-    simp only [length_append_sub, ↓reduceIte]
-(    rw [ih v rest h.1]
-    simp only [length_append_sub, ↓reduceIte]
-i    rw [ih v rest h.1]
-    simp only [length_append_sub, ↓reduceIte]
-n    rw [ih v rest h.1]
-    simp only [length_append_sub, ↓reduceIte]
-t    rw [ih v rest h.1]
-    simp only [length_append_sub, ↓reduceIte]
-s    rw [ih v rest h.1]
-    simp only [length_append_sub, ↓reduceIte]
-O    rw [ih v rest h.1]
-    simp only [length_append_sub, ↓reduceIte]
-f    rw [ih v rest h.1]
-    simp only [length_append_sub, ↓reduceIte]
-     rw [ih v rest h.1]
-    simp only [length_append_sub, ↓reduceIte]
-v    rw [ih v rest h.1]
-    simp only [length_append_sub, ↓reduceIte]
-s    rw [ih v rest h.1]
-    simp only [length_append_sub, ↓reduceIte]
-)    rw [ih v rest h.1]
-    simp only [length_append_sub, ↓reduceIte]
-)    rw [ih v rest h.1]
-    simp only [length_append_sub, ↓reduceIte]
-     rw [ih v rest h.1]
-    simp only [length_append_sub, ↓reduceIte]
-r    rw [ih v rest h.1]
-    simp only [length_append_sub, ↓reduceIte]
-e    rw [ih v rest h.1]
-    simp only [length_append_sub, ↓reduceIte]
-s    rw [ih v rest h.1]
-    simp only [length_append_sub, ↓reduceIte]
-t    rw [ih v rest h.1]
-    simp only [length_append_sub, ↓reduceIte]
-
-    rw [ih v rest h.1]
-    simp only [length_append_sub, ↓reduceIte]
-     rw [ih v rest h.1]
-    simp only [length_append_sub, ↓reduceIte]
-     rw [ih v rest h.1]
-    simp only [length_append_sub, ↓reduceIte]
-     rw [ih v rest h.1]
-    simp only [length_append_sub, ↓reduceIte]
-     rw [ih v rest h.1]
-    simp only [length_append_sub, ↓reduceIte]
-     rw [ih v rest h.1]
-    simp only [length_append_sub, ↓reduceIte]
-     rw [ih v rest h.1]
-    simp only [length_append_sub, ↓reduceIte]
-(    rw [ih v rest h.1]
-    simp only [length_append_sub, ↓reduceIte]
-b    rw [ih v rest h.1]
-    simp only [length_append_sub, ↓reduceIte]
-y    rw [ih v rest h.1]
-    simp only [length_append_sub, ↓reduceIte]
-     rw [ih v rest h.1]
-    simp only [length_append_sub, ↓reduceIte]
-i    rw [ih v rest h.1]
-    simp only [length_append_sub, ↓reduceIte]
-n    rw [ih v rest h.1]
-    simp only [length_append_sub, ↓reduceIte]
-t    rw [ih v rest h.1]
-    simp only [length_append_sub, ↓reduceIte]
-r    rw [ih v rest h.1]
-    simp only [length_append_sub, ↓reduceIte]
-o    rw [ih v rest h.1]
-    simp only [length_append_sub, ↓reduceIte]
-     rw [ih v rest h.1]
-    simp only [length_append_sub, ↓reduceIte]
-x    rw [ih v rest h.1]
-    simp only [length_append_sub, ↓reduceIte]
-s    rw [ih v rest h.1]
-    simp only [length_append_sub, ↓reduceIte]
-     rw [ih v rest h.1]
-    simp only [length_append_sub, ↓reduceIte]
-h    rw [ih v rest h.1]
-    simp only [length_append_sub, ↓reduceIte]
-x    rw [ih v rest h.1]
-    simp only [length_append_sub, ↓reduceIte]
-;    rw [ih v rest h.1]
-    simp only [length_append_sub, ↓reduceIte]
-     rw [ih v rest h.1]
-    simp only [length_append_sub, ↓reduceIte]
-c    rw [ih v rest h.1]
-    simp only [length_append_sub, ↓reduceIte]
-a    rw [ih v rest h.1]
-    simp only [length_append_sub, ↓reduceIte]
-s    rw [ih v rest h.1]
-    simp only [length_append_sub, ↓reduceIte]
-e    rw [ih v rest h.1]
-    simp only [length_append_sub, ↓reduceIte]
-s    rw [ih v rest h.1]
-    simp only [length_append_sub, ↓reduceIte]
-     rw [ih v rest h.1]
-    simp only [length_append_sub, ↓reduceIte]
-h    rw [ih v rest h.1]
-    simp only [length_append_sub, ↓reduceIte]
-x    rw [ih v rest h.1]
-    simp only [length_append_sub, ↓reduceIte]
-;    rw [ih v rest h.1]
-    simp only [length_append_sub, ↓reduceIte]
-     rw [ih v rest h.1]
-    simp only [length_append_sub, ↓reduceIte]
-e    rw [ih v rest h.1]
-    simp only [length_append_sub, ↓reduceIte]
-x    rw [ih v rest h.1]
-    simp only [length_append_sub, ↓reduceIte]
-a    rw [ih v rest h.1]
-    simp only [length_append_sub, ↓reduceIte]
-c    rw [ih v rest h.1]
-    simp only [length_append_sub, ↓reduceIte]
-t    rw [ih v rest h.1]
-    simp only [length_append_sub, ↓reduceIte]
-     rw [ih v rest h.1]
-    simp only [length_append_sub, ↓reduceIte]
-⟨    rw [ih v rest h.1]
-    simp only [length_append_sub, ↓reduceIte]
-b    rw [ih v rest h.1]
-    simp only [length_append_sub, ↓reduceIte]
-y    rw [ih v rest h.1]
-    simp only [length_append_sub, ↓reduceIte]
-     rw [ih v rest h.1]
-    simp only [length_append_sub, ↓reduceIte]
-r    rw [ih v rest h.1]
-    simp only [length_append_sub, ↓reduceIte]
-w    rw [ih v rest h.1]
-    simp only [length_append_sub, ↓reduceIte]
-     rw [ih v rest h.1]
-    simp only [length_append_sub, ↓reduceIte]
-[    rw [ih v rest h.1]
-    simp only [length_append_sub, ↓reduceIte]
-i    rw [ih v rest h.1]
-    simp only [length_append_sub, ↓reduceIte]
-n    rw [ih v rest h.1]
-    simp only [length_append_sub, ↓reduceIte]
-t    rw [ih v rest h.1]
-    simp only [length_append_sub, ↓reduceIte]
-s    rw [ih v rest h.1]
-    simp only [length_append_sub, ↓reduceIte]
-O    rw [ih v rest h.1]
-    simp only [length_append_sub, ↓reduceIte]
-f    rw [ih v rest h.1]
-    simp only [length_append_sub, ↓reduceIte]
-_    rw [ih v rest h.1]
-    simp only [length_append_sub, ↓reduceIte]
-l    rw [ih v rest h.1]
-    simp only [length_append_sub, ↓reduceIte]
-e    rw [ih v rest h.1]
-    simp only [length_append_sub, ↓reduceIte]
-n    rw [ih v rest h.1]
-    simp only [length_append_sub, ↓reduceIte]
-g    rw [ih v rest h.1]
-    simp only [length_append_sub, ↓reduceIte]
-t    rw [ih v rest h.1]
-    simp only [length_append_sub, ↓reduceIte]
-h    rw [ih v rest h.1]
-    simp only [length_append_sub, ↓reduceIte]
-]    rw [ih v rest h.1]
-    simp only [length_append_sub, ↓reduceIte]
-;    rw [ih v rest h.1]
-    simp only [length_append_sub, ↓reduceIte]
-     rw [ih v rest h.1]
-    simp only [length_append_sub, ↓reduceIte]
-e    rw [ih v rest h.1]
-    simp only [length_append_sub, ↓reduceIte]
-x    rw [ih v rest h.1]
-    simp only [length_append_sub, ↓reduceIte]
-a    rw [ih v rest h.1]
-    simp only [length_append_sub, ↓reduceIte]
-c    rw [ih v rest h.1]
-    simp only [length_append_sub, ↓reduceIte]
-t    rw [ih v rest h.1]
-    simp only [length_append_sub, ↓reduceIte]
-     rw [ih v rest h.1]
-    simp only [length_append_sub, ↓reduceIte]
-h    rw [ih v rest h.1]
-    simp only [length_append_sub, ↓reduceIte]
-.    rw [ih v rest h.1]
-    simp only [length_append_sub, ↓reduceIte]
-1    rw [ih v rest h.1]
-    simp only [length_append_sub, ↓reduceIte]
-,    rw [ih v rest h.1]
-    simp only [length_append_sub, ↓reduceIte]
-     rw [ih v rest h.1]
-    simp only [length_append_sub, ↓reduceIte]
-h    rw [ih v rest h.1]
-    simp only [length_append_sub, ↓reduceIte]
-s    rw [ih v rest h.1]
-    simp only [length_append_sub, ↓reduceIte]
-.    rw [ih v rest h.1]
-    simp only [length_append_sub, ↓reduceIte]
-2    rw [ih v rest h.1]
-    simp only [length_append_sub, ↓reduceIte]
-⟩    rw [ih v rest h.1]
-    simp only [length_append_sub, ↓reduceIte]
-)    rw [ih v rest h.1]
-    simp only [length_append_sub, ↓reduceIte]
-]    rw [ih v rest h.1]
-    simp only [length_append_sub, ↓reduceIte]
-
-    rw [ih v rest h.1]
-    simp only [length_append_sub, ↓reduceIte]
-     rw [ih v rest h.1]
-    simp only [length_append_sub, ↓reduceIte]
-     rw [ih v rest h.1]
-    simp only [length_append_sub, ↓reduceIte]
-     rw [ih v rest h.1]
-    simp only [length_append_sub, ↓reduceIte]
-     rw [ih v rest h.1]
-    simp only [length_append_sub, ↓reduceIte]
-s    rw [ih v rest h.1]
-    simp only [length_append_sub, ↓reduceIte]
-i    rw [ih v rest h.1]
-    simp only [length_append_sub, ↓reduceIte]
-m    rw [ih v rest h.1]
-    simp only [length_append_sub, ↓reduceIte]
-p    rw [ih v rest h.1]
-    simp only [length_append_sub, ↓reduceIte]
-     rw [ih v rest h.1]
-    simp only [length_append_sub, ↓reduceIte]
-o    rw [ih v rest h.1]
-    simp only [length_append_sub, ↓reduceIte]
-n    rw [ih v rest h.1]
-    simp only [length_append_sub, ↓reduceIte]
-l    rw [ih v rest h.1]
-    simp only [length_append_sub, ↓reduceIte]
-y    rw [ih v rest h.1]
-    simp only [length_append_sub, ↓reduceIte]
-     rw [ih v rest h.1]
-    simp only [length_append_sub, ↓reduceIte]
-[    rw [ih v rest h.1]
-    simp only [length_append_sub, ↓reduceIte]
-m    rw [ih v rest h.1]
-    simp only [length_append_sub, ↓reduceIte]
-a    rw [ih v rest h.1]
-    simp only [length_append_sub, ↓reduceIte]
-p    rw [ih v rest h.1]
-    simp only [length_append_sub, ↓reduceIte]
-F    rw [ih v rest h.1]
-    simp only [length_append_sub, ↓reduceIte]
-s    rw [ih v rest h.1]
-    simp only [length_append_sub, ↓reduceIte]
-t    rw [ih v rest h.1]
-    simp only [length_append_sub, ↓reduceIte]
-,    rw [ih v rest h.1]
-    simp only [length_append_sub, ↓reduceIte]
-     rw [ih v rest h.1]
-    simp only [length_append_sub, ↓reduceIte]
-h    rw [ih v rest h.1]
-    simp only [length_append_sub, ↓reduceIte]
-s    rw [ih v rest h.1]
-    simp only [length_append_sub, ↓reduceIte]
-.    rw [ih v rest h.1]
-    simp only [length_append_sub, ↓reduceIte]
-1    rw [ih v rest h.1]
-    simp only [length_append_sub, ↓reduceIte]
-]    rw [ih v rest h.1]
-    simp only [length_append_sub, ↓reduceIte]
-
-    rw [ih v rest h.1]
-    simp only [length_append_sub, ↓reduceIte]
-     rw [ih v rest h.1]
-    simp only [length_append_sub, ↓reduceIte]
-     rw [ih v rest h.1]
-    simp only [length_append_sub, ↓reduceIte]
-c    rw [ih v rest h.1]
-    simp only [length_append_sub, ↓reduceIte]
-a    rw [ih v rest h.1]
-    simp only [length_append_sub, ↓reduceIte]
-s    rw [ih v rest h.1]
-    simp only [length_append_sub, ↓reduceIte]
-e    rw [ih v rest h.1]
-    simp only [length_append_sub, ↓reduceIte]
-     rw [ih v rest h.1]
-    simp only [length_append_sub, ↓reduceIte]
-n    rw [ih v rest h.1]
-    simp only [length_append_sub, ↓reduceIte]
-c    rw [ih v rest h.1]
-    simp only [length_append_sub, ↓reduceIte]
-i    rw [ih v rest h.1]
-    simp only [length_append_sub, ↓reduceIte]
-3    rw [ih v rest h.1]
-    simp only [length_append_sub, ↓reduceIte]
-2    rw [ih v rest h.1]
-    simp only [length_append_sub, ↓reduceIte]
-a    rw [ih v rest h.1]
-    simp only [length_append_sub, ↓reduceIte]
-r    rw [ih v rest h.1]
-    simp only [length_append_sub, ↓reduceIte]
-r    rw [ih v rest h.1]
-    simp only [length_append_sub, ↓reduceIte]
-.    rw [ih v rest h.1]
-    simp only [length_append_sub, ↓reduceIte]
-n    rw [ih v rest h.1]
-    simp only [length_append_sub, ↓reduceIte]
-u    rw [ih v rest h.1]
-    simp only [length_append_sub, ↓reduceIte]
-l    rw [ih v rest h.1]
-    simp only [length_append_sub, ↓reduceIte]
-l    rw [ih v rest h.1]
-    simp only [length_append_sub, ↓reduceIte]
-     rw [ih v rest h.1]
-    simp only [length_append_sub, ↓reduceIte]
-=    rw [ih v rest h.1]
-    simp only [length_append_sub, ↓reduceIte]
->    rw [ih v rest h.1]
-    simp only [length_append_sub, ↓reduceIte]
-
-    rw [ih v rest h.1]
-    simp only [length_append_sub, ↓reduceIte]
-     rw [ih v rest h.1]
-    simp only [length_append_sub, ↓reduceIte]
-     rw [ih v rest h.1]
-    simp only [length_append_sub, ↓reduceIte]
-     rw [ih v rest h.1]
-    simp only [length_append_sub, ↓reduceIte]
-     rw [ih v rest h.1]
-    simp only [length_append_sub, ↓reduceIte]
-r    rw [ih v rest h.1]
-    simp only [length_append_sub, ↓reduceIte]
-w    rw [ih v rest h.1]
-    simp only [length_append_sub, ↓reduceIte]
-     rw [ih v rest h.1]
-    simp only [length_append_sub, ↓reduceIte]
-[    rw [ih v rest h.1]
-    simp only [length_append_sub, ↓reduceIte]
-g    rw [ih v rest h.1]
-    simp only [length_append_sub, ↓reduceIte]
-e    rw [ih v rest h.1]
-    simp only [length_append_sub, ↓reduceIte]
-t    rw [ih v rest h.1]
-    simp only [length_append_sub, ↓reduceIte]
-C    rw [ih v rest h.1]
-    simp only [length_append_sub, ↓reduceIte]
-o    rw [ih v rest h.1]
-    simp only [length_append_sub, ↓reduceIte]
-m    rw [ih v rest h.1]
-    simp only [length_append_sub, ↓reduceIte]
-p    rw [ih v rest h.1]
-    simp only [length_append_sub, ↓reduceIte]
-a    rw [ih v rest h.1]
-    simp only [length_append_sub, ↓reduceIte]
-c    rw [ih v rest h.1]
-    simp only [length_append_sub, ↓reduceIte]
-t    rw [ih v rest h.1]
-    simp only [length_append_sub, ↓reduceIte]
-I    rw [ih v rest h.1]
-    simp only [length_append_sub, ↓reduceIte]
-n    rw [ih v rest h.1]
-    simp only [length_append_sub, ↓reduceIte]
-t    rw [ih v rest h.1]
-    simp only [length_append_sub, ↓reduceIte]
-3    rw [ih v rest h.1]
-    simp only [length_append_sub, ↓reduceIte]
-2    rw [ih v rest h.1]
-    simp only [length_append_sub, ↓reduceIte]
-A    rw [ih v rest h.1]
-    simp only [length_append_sub, ↓reduceIte]
-r    rw [ih v rest h.1]
-    simp only [length_append_sub, ↓reduceIte]
-r    rw [ih v rest h.1]
-    simp only [length_append_sub, ↓reduceIte]
-a    rw [ih v rest h.1]
-    simp only [length_append_sub, ↓reduceIte]
-y    rw [ih v rest h.1]
-    simp only [length_append_sub, ↓reduceIte]
-_    rw [ih v rest h.1]
-    simp only [length_append_sub, ↓reduceIte]
-p    rw [ih v rest h.1]
-    simp only [length_append_sub, ↓reduceIte]
-u    rw [ih v rest h.1]
-    simp only [length_append_sub, ↓reduceIte]
-t    rw [ih v rest h.1]
-    simp only [length_append_sub, ↓reduceIte]
-N    rw [ih v rest h.1]
-    simp only [length_append_sub, ↓reduceIte]
-u    rw [ih v rest h.1]
-    simp only [length_append_sub, ↓reduceIte]
-l    rw [ih v rest h.1]
-    simp only [length_append_sub, ↓reduceIte]
-l    rw [ih v rest h.1]
-    simp only [length_append_sub, ↓reduceIte]
-a    rw [ih v rest h.1]
-    simp only [length_append_sub, ↓reduceIte]
-b    rw [ih v rest h.1]
-    simp only [length_append_sub, ↓reduceIte]
-l    rw [ih v rest h.1]
-    simp only [length_append_sub, ↓reduceIte]
-e    rw [ih v rest h.1]
-    simp only [length_append_sub, ↓reduceIte]
-     rw [ih v rest h.1]
-    simp only [length_append_sub, ↓reduceIte]
-n    rw [ih v rest h.1]
-    simp only [length_append_sub, ↓reduceIte]
-o    rw [ih v rest h.1]
-    simp only [length_append_sub, ↓reduceIte]
-n    rw [ih v rest h.1]
-    simp only [length_append_sub, ↓reduceIte]
-e    rw [ih v rest h.1]
-    simp only [length_append_sub, ↓reduceIte]
-     rw [ih v rest h.1]
-    simp only [length_append_sub, ↓reduceIte]
-r    rw [ih v rest h.1]
-    simp only [length_append_sub, ↓reduceIte]
-e    rw [ih v rest h.1]
-    simp only [length_append_sub, ↓reduceIte]
-s    rw [ih v rest h.1]
-    simp only [length_append_sub, ↓reduceIte]
-t    rw [ih v rest h.1]
-    simp only [length_append_sub, ↓reduceIte]
-     rw [ih v rest h.1]
-    simp only [length_append_sub, ↓reduceIte]
-(    rw [ih v rest h.1]
-    simp only [length_append_sub, ↓reduceIte]
-b    rw [ih v rest h.1]
-    simp only [length_append_sub, ↓reduceIte]
-y    rw [ih v rest h.1]
-    simp only [length_append_sub, ↓reduceIte]
-     rw [ih v rest h.1]
-    simp only [length_append_sub, ↓reduceIte]
-i    rw [ih v rest h.1]
-    simp only [length_append_sub, ↓reduceIte]
-n    rw [ih v rest h.1]
-    simp only [length_append_sub, ↓reduceIte]
-t    rw [ih v rest h.1]
-    simp only [length_append_sub, ↓reduceIte]
-r    rw [ih v rest h.1]
-    simp only [length_append_sub, ↓reduceIte]
-o    rw [ih v rest h.1]
-    simp only [length_append_sub, ↓reduceIte]
-     rw [ih v rest h.1]
-    simp only [length_append_sub, ↓reduceIte]
-x    rw [ih v rest h.1]
-    simp only [length_append_sub, ↓reduceIte]
-s    rw [ih v rest h.1]
-    simp only [length_append_sub, ↓reduceIte]
-     rw [ih v rest h.1]
-    simp only [length_append_sub, ↓reduceIte]
-h    rw [ih v rest h.1]
-    simp only [length_append_sub, ↓reduceIte]
-x    rw [ih v rest h.1]
-    simp only [length_append_sub, ↓reduceIte]
-;    rw [ih v rest h.1]
-    simp only [length_append_sub, ↓reduceIte]
-     rw [ih v rest h.1]
-    simp only [length_append_sub, ↓reduceIte]
-c    rw [ih v rest h.1]
-    simp only [length_append_sub, ↓reduceIte]
-a    rw [ih v rest h.1]
-    simp only [length_append_sub, ↓reduceIte]
-s    rw [ih v rest h.1]
-    simp only [length_append_sub, ↓reduceIte]
-e    rw [ih v rest h.1]
-    simp only [length_append_sub, ↓reduceIte]
-s    rw [ih v rest h.1]
-    simp only [length_append_sub, ↓reduceIte]
-     rw [ih v rest h.1]
-    simp only [length_append_sub, ↓reduceIte]
-h    rw [ih v rest h.1]
-    simp only [length_append_sub, ↓reduceIte]
-x    rw [ih v rest h.1]
-    simp only [length_append_sub, ↓reduceIte]
-)    rw [ih v rest h.1]
-    simp only [length_append_sub, ↓reduceIte]
-]    rw [ih v rest h.1]
-    simp only [length_append_sub, ↓reduceIte]
-;    rw [ih v rest h.1]
-    simp only [length_append_sub, ↓reduceIte]
-     rw [ih v rest h.1]
-    simp only [length_append_sub, ↓reduceIte]
-r    rw [ih v rest h.1]
-    simp only [length_append_sub, ↓reduceIte]
-f    rw [ih v rest h.1]
-    simp only [length_append_sub, ↓reduceIte]
-l    rw [ih v rest h.1]
-    simp only [length_append_sub, ↓reduceIte]
-
-    rw [ih v rest h.1]
-    simp only [length_append_sub, ↓reduceIte]
-     rw [ih v rest h.1]
-    simp only [length_append_sub, ↓reduceIte]
-     rw [ih v rest h.1]
-    simp only [length_append_sub, ↓reduceIte]
-c    rw [ih v rest h.1]
-    simp only [length_append_sub, ↓reduceIte]
-a    rw [ih v rest h.1]
-    simp only [length_append_sub, ↓reduceIte]
-s    rw [ih v rest h.1]
-    simp only [length_append_sub, ↓reduceIte]
-e    rw [ih v rest h.1]
-    simp only [length_append_sub, ↓reduceIte]
-     rw [ih v rest h.1]
-    simp only [length_append_sub, ↓reduceIte]
-s    rw [ih v rest h.1]
-    simp only [length_append_sub, ↓reduceIte]
-t    rw [ih v rest h.1]
-    simp only [length_append_sub, ↓reduceIte]
-r    rw [ih v rest h.1]
-    simp only [length_append_sub, ↓reduceIte]
-a    rw [ih v rest h.1]
-    simp only [length_append_sub, ↓reduceIte]
-r    rw [ih v rest h.1]
-    simp only [length_append_sub, ↓reduceIte]
-r    rw [ih v rest h.1]
-    simp only [length_append_sub, ↓reduceIte]
-.    rw [ih v rest h.1]
-    simp only [length_append_sub, ↓reduceIte]
-l    rw [ih v rest h.1]
-    simp only [length_append_sub, ↓reduceIte]
-i    rw [ih v rest h.1]
-    simp only [length_append_sub, ↓reduceIte]
-s    rw [ih v rest h.1]
-    simp only [length_append_sub, ↓reduceIte]
-t    rw [ih v rest h.1]
-    simp only [length_append_sub, ↓reduceIte]
-     rw [ih v rest h.1]
-    simp only [length_append_sub, ↓reduceIte]
-v    rw [ih v rest h.1]
-    simp only [length_append_sub, ↓reduceIte]
-s    rw [ih v rest h.1]
-    simp only [length_append_sub, ↓reduceIte]
-     rw [ih v rest h.1]
-    simp only [length_append_sub, ↓reduceIte]
-=    rw [ih v rest h.1]
-    simp only [length_append_sub, ↓reduceIte]
->    rw [ih v rest h.1]
-    simp only [length_append_sub, ↓reduceIte]
-
-    rw [ih v rest h.1]
-    simp only [length_append_sub, ↓reduceIte]
-     rw [ih v rest h.1]
-    simp only [length_append_sub, ↓reduceIte]
-     rw [ih v rest h.1]
-    simp only [length_append_sub, ↓reduceIte]
-     rw [ih v rest h.1]
-    simp only [length_append_sub, ↓reduceIte]
-     rw [ih v rest h.1]
-    simp only [length_append_sub, ↓reduceIte]
-h    rw [ih v rest h.1]
-    simp only [length_append_sub, ↓reduceIte]
-a    rw [ih v rest h.1]
-    simp only [length_append_sub, ↓reduceIte]
-v    rw [ih v rest h.1]
-    simp only [length_append_sub, ↓reduceIte]
-e    rw [ih v rest h.1]
-    simp only [length_append_sub, ↓reduceIte]
-     rw [ih v rest h.1]
-    simp only [length_append_sub, ↓reduceIte]
-h    rw [ih v rest h.1]
-    simp only [length_append_sub, ↓reduceIte]
-s    rw [ih v rest h.1]
-    simp only [length_append_sub, ↓reduceIte]
-     rw [ih v rest h.1]
-    simp only [length_append_sub, ↓reduceIte]
-:    rw [ih v rest h.1]
-    simp only [length_append_sub, ↓reduceIte]
-=    rw [ih v rest h.1]
-    simp only [length_append_sub, ↓reduceIte]
-     rw [ih v rest h.1]
-    simp only [length_append_sub, ↓reduceIte]
-a    rw [ih v rest h.1]
-    simp only [length_append_sub, ↓reduceIte]
-l    rw [ih v rest h.1]
-    simp only [length_append_sub, ↓reduceIte]
-l    rw [ih v rest h.1]
-    simp only [length_append_sub, ↓reduceIte]
-S    rw [ih v rest h.1]
-    simp only [length_append_sub, ↓reduceIte]
-t    rw [ih v rest h.1]
-    simp only [length_append_sub, ↓reduceIte]
-r    rw [ih v rest h.1]
-    simp only [length_append_sub, ↓reduceIte]
-_    rw [ih v rest h.1]
-    simp only [length_append_sub, ↓reduceIte]
-s    rw [ih v rest h.1]
-    simp only [length_append_sub, ↓reduceIte]
-p    rw [ih v rest h.1]
-    simp only [length_append_sub, ↓reduceIte]
-e    rw [ih v rest h.1]
-    simp only [length_append_sub, ↓reduceIte]
-c    rw [ih v rest h.1]
-    simp only [length_append_sub, ↓reduceIte]
-     rw [ih v rest h.1]
-    simp only [length_append_sub, ↓reduceIte]
-v    rw [ih v rest h.1]
-    simp only [length_append_sub, ↓reduceIte]
-s    rw [ih v rest h.1]
-    simp only [length_append_sub, ↓reduceIte]
-     rw [ih v rest h.1]
-    simp only [length_append_sub, ↓reduceIte]
-h    rw [ih v rest h.1]
-    simp only [length_append_sub, ↓reduceIte]
-.    rw [ih v rest h.1]
-    simp only [length_append_sub, ↓reduceIte]
-2    rw [ih v rest h.1]
-    simp only [length_append_sub, ↓reduceIte]
-
-    rw [ih v rest h.1]
-    simp only [length_append_sub, ↓reduceIte]
-     rw [ih v rest h.1]
-    simp only [length_append_sub, ↓reduceIte]
-     rw [ih v rest h.1]
-    simp only [length_append_sub, ↓reduceIte]
-     rw [ih v rest h.1]
-    simp only [length_append_sub, ↓reduceIte]
-     rw [ih v rest h.1]
-    simp only [length_append_sub, ↓reduceIte]
-r    rw [ih v rest h.1]
-    simp only [length_append_sub, ↓reduceIte]
-w    rw [ih v rest h.1]
-    simp only [length_append_sub, ↓reduceIte]
-     rw [ih v rest h.1]
-    simp only [length_append_sub, ↓reduceIte]
-[    rw [ih v rest h.1]
-    simp only [length_append_sub, ↓reduceIte]
-g    rw [ih v rest h.1]
-    simp only [length_append_sub, ↓reduceIte]
-e    rw [ih v rest h.1]
-    simp only [length_append_sub, ↓reduceIte]
-t    rw [ih v rest h.1]
-    simp only [length_append_sub, ↓reduceIte]
-S    rw [ih v rest h.1]
-    simp only [length_append_sub, ↓reduceIte]
-t    rw [ih v rest h.1]
-    simp only [length_append_sub, ↓reduceIte]
-r    rw [ih v rest h.1]
-    simp only [length_append_sub, ↓reduceIte]
-i    rw [ih v rest h.1]
-    simp only [length_append_sub, ↓reduceIte]
-n    rw [ih v rest h.1]
-    simp only [length_append_sub, ↓reduceIte]
-g    rw [ih v rest h.1]
-    simp only [length_append_sub, ↓reduceIte]
-A    rw [ih v rest h.1]
-    simp only [length_append_sub, ↓reduceIte]
-r    rw [ih v rest h.1]
-    simp only [length_append_sub, ↓reduceIte]
-r    rw [ih v rest h.1]
-    simp only [length_append_sub, ↓reduceIte]
-a    rw [ih v rest h.1]
-    simp only [length_append_sub, ↓reduceIte]
-y    rw [ih v rest h.1]
-    simp only [length_append_sub, ↓reduceIte]
-_    rw [ih v rest h.1]
-    simp only [length_append_sub, ↓reduceIte]
-p    rw [ih v rest h.1]
-    simp only [length_append_sub, ↓reduceIte]
-u    rw [ih v rest h.1]
-    simp only [length_append_sub, ↓reduceIte]
-t    rw [ih v rest h.1]
-    simp only [length_append_sub, ↓reduceIte]
-     rw [ih v rest h.1]
-    simp only [length_append_sub, ↓reduceIte]
-_    rw [ih v rest h.1]
-    simp only [length_append_sub, ↓reduceIte]
-     rw [ih v rest h.1]
-    simp only [length_append_sub, ↓reduceIte]
-r    rw [ih v rest h.1]
-    simp only [length_append_sub, ↓reduceIte]
-e    rw [ih v rest h.1]
-    simp only [length_append_sub, ↓reduceIte]
-s    rw [ih v rest h.1]
-    simp only [length_append_sub, ↓reduceIte]
-t    rw [ih v rest h.1]
-    simp only [length_append_sub, ↓reduceIte]
-     rw [ih v rest h.1]
-    simp only [length_append_sub, ↓reduceIte]
-(    rw [ih v rest h.1]
-    simp only [length_append_sub, ↓reduceIte]
-b    rw [ih v rest h.1]
-    simp only [length_append_sub, ↓reduceIte]
-y    rw [ih v rest h.1]
-    simp only [length_append_sub, ↓reduceIte]
-     rw [ih v rest h.1]
-    simp only [length_append_sub, ↓reduceIte]
-r    rw [ih v rest h.1]
-    simp only [length_append_sub, ↓reduceIte]
-w    rw [ih v rest h.1]
-    simp only [length_append_sub, ↓reduceIte]
-     rw [ih v rest h.1]
-    simp only [length_append_sub, ↓reduceIte]
-[    rw [ih v rest h.1]
-    simp only [length_append_sub, ↓reduceIte]
-b    rw [ih v rest h.1]
-    simp only [length_append_sub, ↓reduceIte]
-y    rw [ih v rest h.1]
-    simp only [length_append_sub, ↓reduceIte]
-t    rw [ih v rest h.1]
-    simp only [length_append_sub, ↓reduceIte]
-e    rw [ih v rest h.1]
-    simp only [length_append_sub, ↓reduceIte]
-s    rw [ih v rest h.1]
-    simp only [length_append_sub, ↓reduceIte]
-O    rw [ih v rest h.1]
-    simp only [length_append_sub, ↓reduceIte]
-f    rw [ih v rest h.1]
-    simp only [length_append_sub, ↓reduceIte]
-_    rw [ih v rest h.1]
-    simp only [length_append_sub, ↓reduceIte]
-l    rw [ih v rest h.1]
-    simp only [length_append_sub, ↓reduceIte]
-e    rw [ih v rest h.1]
-    simp only [length_append_sub, ↓reduceIte]
-n    rw [ih v rest h.1]
-    simp only [length_append_sub, ↓reduceIte]
-g    rw [ih v rest h.1]
-    simp only [length_append_sub, ↓reduceIte]
-t    rw [ih v rest h.1]
-    simp only [length_append_sub, ↓reduceIte]
-h    rw [ih v rest h.1]
-    simp only [length_append_sub, ↓reduceIte]
-]    rw [ih v rest h.1]
-    simp only [length_append_sub, ↓reduceIte]
-;    rw [ih v rest h.1]
-    simp only [length_append_sub, ↓reduceIte]
-     rw [ih v rest h.1]
-    simp only [length_append_sub, ↓reduceIte]
-e    rw [ih v rest h.1]
-    simp only [length_append_sub, ↓reduceIte]
-x    rw [ih v rest h.1]
-    simp only [length_append_sub, ↓reduceIte]
-a    rw [ih v rest h.1]
-    simp only [length_append_sub, ↓reduceIte]
-c    rw [ih v rest h.1]
-    simp only [length_append_sub, ↓reduceIte]
-t    rw [ih v rest h.1]
-    simp only [length_append_sub, ↓reduceIte]
-     rw [ih v rest h.1]
-    simp only [length_append_sub, ↓reduceIte]
-h    rw [ih v rest h.1]
-    simp only [length_append_sub, ↓reduceIte]
-.    rw [ih v rest h.1]
-    simp only [length_append_sub, ↓reduceIte]
-1    rw [ih v rest h.1]
-    simp only [length_append_sub, ↓reduceIte]
-)    rw [ih v rest h.1]
-    simp only [length_append_sub, ↓reduceIte]
-     rw [ih v rest h.1]
-    simp only [length_append_sub, ↓reduceIte]
-h    rw [ih v rest h.1]
-    simp only [length_append_sub, ↓reduceIte]
-s    rw [ih v rest h.1]
-    simp only [length_append_sub, ↓reduceIte]
-.    rw [ih v rest h.1]
-    simp only [length_append_sub, ↓reduceIte]
-2    rw [ih v rest h.1]
-    simp only [length_append_sub, ↓reduceIte]
-]    rw [ih v rest h.1]
-    simp only [length_append_sub, ↓reduceIte]
-
-    rw [ih v rest h.1]
-    simp only [length_append_sub, ↓reduceIte]
-     rw [ih v rest h.1]
-    simp only [length_append_sub, ↓reduceIte]
-     rw [ih v rest h.1]
-    simp only [length_append_sub, ↓reduceIte]
-     rw [ih v rest h.1]
-    simp only [length_append_sub, ↓reduceIte]
-     rw [ih v rest h.1]
-    simp only [length_append_sub, ↓reduceIte]
-s    rw [ih v rest h.1]
-    simp only [length_append_sub, ↓reduceIte]
-i    rw [ih v rest h.1]
-    simp only [length_append_sub, ↓reduceIte]
-m    rw [ih v rest h.1]
-    simp only [length_append_sub, ↓reduceIte]
-p    rw [ih v rest h.1]
-    simp only [length_append_sub, ↓reduceIte]
-     rw [ih v rest h.1]
-    simp only [length_append_sub, ↓reduceIte]
-o    rw [ih v rest h.1]
-    simp only [length_append_sub, ↓reduceIte]
-n    rw [ih v rest h.1]
-    simp only [length_append_sub, ↓reduceIte]
-l    rw [ih v rest h.1]
-    simp only [length_append_sub, ↓reduceIte]
-y    rw [ih v rest h.1]
-    simp only [length_append_sub, ↓reduceIte]
-     rw [ih v rest h.1]
-    simp only [length_append_sub, ↓reduceIte]
-[    rw [ih v rest h.1]
-    simp only [length_append_sub, ↓reduceIte]
-m    rw [ih v rest h.1]
-    simp only [length_append_sub, ↓reduceIte]
-a    rw [ih v rest h.1]
-    simp only [length_append_sub, ↓reduceIte]
-p    rw [ih v rest h.1]
-    simp only [length_append_sub, ↓reduceIte]
-F    rw [ih v rest h.1]
-    simp only [length_append_sub, ↓reduceIte]
-s    rw [ih v rest h.1]
-    simp only [length_append_sub, ↓reduceIte]
-t    rw [ih v rest h.1]
-    simp only [length_append_sub, ↓reduceIte]
-,    rw [ih v rest h.1]
-    simp only [length_append_sub, ↓reduceIte]
-     rw [ih v rest h.1]
-    simp only [length_append_sub, ↓reduceIte]
-h    rw [ih v rest h.1]
-    simp only [length_append_sub, ↓reduceIte]
-s    rw [ih v rest h.1]
-    simp only [length_append_sub, ↓reduceIte]
-.    rw [ih v rest h.1]
-    simp only [length_append_sub, ↓reduceIte]
-1    rw [ih v rest h.1]
-    simp only [length_append_sub, ↓reduceIte]
-]    rw [ih v rest h.1]
-    simp only [length_append_sub, ↓reduceIte]
-
-    rw [ih v rest h.1]
-    simp only [length_append_sub, ↓reduceIte]
-     rw [ih v rest h.1]
-    simp only [length_append_sub, ↓reduceIte]
-     rw [ih v rest h.1]
-    simp only [length_append_sub, ↓reduceIte]
-c    rw [ih v rest h.1]
-    simp only [length_append_sub, ↓reduceIte]
-a    rw [ih v rest h.1]
-    simp only [length_append_sub, ↓reduceIte]
-s    rw [ih v rest h.1]
-    simp only [length_append_sub, ↓reduceIte]
-e    rw [ih v rest h.1]
-    simp only [length_append_sub, ↓reduceIte]
-     rw [ih v rest h.1]
-    simp only [length_append_sub, ↓reduceIte]
-t    rw [ih v rest h.1]
-    simp only [length_append_sub, ↓reduceIte]
-a    rw [ih v rest h.1]
-    simp only [length_append_sub, ↓reduceIte]
-g    rw [ih v rest h.1]
-    simp only [length_append_sub, ↓reduceIte]
-g    rw [ih v rest h.1]
-    simp only [length_append_sub, ↓reduceIte]
-e    rw [ih v rest h.1]
-    simp only [length_append_sub, ↓reduceIte]
-d    rw [ih v rest h.1]
-    simp only [length_append_sub, ↓reduceIte]
-.    rw [ih v rest h.1]
-    simp only [length_append_sub, ↓reduceIte]
-u    rw [ih v rest h.1]
-    simp only [length_append_sub, ↓reduceIte]
-n    rw [ih v rest h.1]
-    simp only [length_append_sub, ↓reduceIte]
-i    rw [ih v rest h.1]
-    simp only [length_append_sub, ↓reduceIte]
-t    rw [ih v rest h.1]
-    simp only [length_append_sub, ↓reduceIte]
-     rw [ih v rest h.1]
-    simp only [length_append_sub, ↓reduceIte]
-=    rw [ih v rest h.1]
-    simp only [length_append_sub, ↓reduceIte]
->    rw [ih v rest h.1]
-    simp only [length_append_sub, ↓reduceIte]
-     rw [ih v rest h.1]
-    simp only [length_append_sub, ↓reduceIte]
-r    rw [ih v rest h.1]
-    simp only [length_append_sub, ↓reduceIte]
-w    rw [ih v rest h.1]
-    simp only [length_append_sub, ↓reduceIte]
-     rw [ih v rest h.1]
-    simp only [length_append_sub, ↓reduceIte]
-[    rw [ih v rest h.1]
-    simp only [length_append_sub, ↓reduceIte]
-g    rw [ih v rest h.1]
-    simp only [length_append_sub, ↓reduceIte]
-e    rw [ih v rest h.1]
-    simp only [length_append_sub, ↓reduceIte]
-t    rw [ih v rest h.1]
-    simp only [length_append_sub, ↓reduceIte]
-E    rw [ih v rest h.1]
-    simp only [length_append_sub, ↓reduceIte]
-m    rw [ih v rest h.1]
-    simp only [length_append_sub, ↓reduceIte]
-p    rw [ih v rest h.1]
-    simp only [length_append_sub, ↓reduceIte]
-t    rw [ih v rest h.1]
-    simp only [length_append_sub, ↓reduceIte]
-y    rw [ih v rest h.1]
-    simp only [length_append_sub, ↓reduceIte]
-T    rw [ih v rest h.1]
-    simp only [length_append_sub, ↓reduceIte]
-a    rw [ih v rest h.1]
-    simp only [length_append_sub, ↓reduceIte]
-g    rw [ih v rest h.1]
-    simp only [length_append_sub, ↓reduceIte]
-g    rw [ih v rest h.1]
-    simp only [length_append_sub, ↓reduceIte]
-e    rw [ih v rest h.1]
-    simp only [length_append_sub, ↓reduceIte]
-d    rw [ih v rest h.1]
-    simp only [length_append_sub, ↓reduceIte]
-_    rw [ih v rest h.1]
-    simp only [length_append_sub, ↓reduceIte]
-p    rw [ih v rest h.1]
-    simp only [length_append_sub, ↓reduceIte]
-u    rw [ih v rest h.1]
-    simp only [length_append_sub, ↓reduceIte]
-t    rw [ih v rest h.1]
-    simp only [length_append_sub, ↓reduceIte]
-]    rw [ih v rest h.1]
-    simp only [length_append_sub, ↓reduceIte]
-;    rw [ih v rest h.1]
-    simp only [length_append_sub, ↓reduceIte]
-     rw [ih v rest h.1]
-    simp only [length_append_sub, ↓reduceIte]
-r    rw [ih v rest h.1]
-    simp only [length_append_sub, ↓reduceIte]
-f    rw [ih v rest h.1]
-    simp only [length_append_sub, ↓reduceIte]
-l    rw [ih v rest h.1]
-    simp only [length_append_sub, ↓reduceIte]
-
-    rw [ih v rest h.1]
-    simp only [length_append_sub, ↓reduceIte]
-     rw [ih v rest h.1]
-    simp only [length_append_sub, ↓reduceIte]
-     rw [ih v rest h.1]
-    simp only [length_append_sub, ↓reduceIte]
-c    rw [ih v rest h.1]
-    simp only [length_append_sub, ↓reduceIte]
-a    rw [ih v rest h.1]
-    simp only [length_append_sub, ↓reduceIte]
-s    rw [ih v rest h.1]
-    simp only [length_append_sub, ↓reduceIte]
-e    rw [ih v rest h.1]
-    simp only [length_append_sub, ↓reduceIte]
-     rw [ih v rest h.1]
-    simp only [length_append_sub, ↓reduceIte]
-r    rw [ih v rest h.1]
-    simp only [length_append_sub, ↓reduceIte]
-a    rw [ih v rest h.1]
-    simp only [length_append_sub, ↓reduceIte]
-w    rw [ih v rest h.1]
-    simp only [length_append_sub, ↓reduceIte]
-.    rw [ih v rest h.1]
-    simp only [length_append_sub, ↓reduceIte]
-b    rw [ih v rest h.1]
-    simp only [length_append_sub, ↓reduceIte]
-y    rw [ih v rest h.1]
-    simp only [length_append_sub, ↓reduceIte]
-t    rw [ih v rest h.1]
-    simp only [length_append_sub, ↓reduceIte]
-e    rw [ih v rest h.1]
-    simp only [length_append_sub, ↓reduceIte]
-s    rw [ih v rest h.1]
-    simp only [length_append_sub, ↓reduceIte]
-     rw [ih v rest h.1]
-    simp only [length_append_sub, ↓reduceIte]
-n    rw [ih v rest h.1]
-    simp only [length_append_sub, ↓reduceIte]
-     rw [ih v rest h.1]
-    simp only [length_append_sub, ↓reduceIte]
-b    rw [ih v rest h.1]
-    simp only [length_append_sub, ↓reduceIte]
-     rw [ih v rest h.1]
-    simp only [length_append_sub, ↓reduceIte]
-=    rw [ih v rest h.1]
-    simp only [length_append_sub, ↓reduceIte]
->    rw [ih v rest h.1]
-    simp only [length_append_sub, ↓reduceIte]
-     rw [ih v rest h.1]
-    simp only [length_append_sub, ↓reduceIte]
-s    rw [ih v rest h.1]
-    simp only [length_append_sub, ↓reduceIte]
-u    rw [ih v rest h.1]
-    simp only [length_append_sub, ↓reduceIte]
-b    rw [ih v rest h.1]
-    simp only [length_append_sub, ↓reduceIte]
-s    rw [ih v rest h.1]
-    simp only [length_append_sub, ↓reduceIte]
-t    rw [ih v rest h.1]
-    simp only [length_append_sub, ↓reduceIte]
-     rw [ih v rest h.1]
-    simp only [length_append_sub, ↓reduceIte]
-h    rw [ih v rest h.1]
-    simp only [length_append_sub, ↓reduceIte]
-;    rw [ih v rest h.1]
-    simp only [length_append_sub, ↓reduceIte]
-     rw [ih v rest h.1]
-    simp only [length_append_sub, ↓reduceIte]
-r    rw [ih v rest h.1]
-    simp only [length_append_sub, ↓reduceIte]
-w    rw [ih v rest h.1]
-    simp only [length_append_sub, ↓reduceIte]
-     rw [ih v rest h.1]
-    simp only [length_append_sub, ↓reduceIte]
-[    rw [ih v rest h.1]
-    simp only [length_append_sub, ↓reduceIte]
-g    rw [ih v rest h.1]
-    simp only [length_append_sub, ↓reduceIte]
-e    rw [ih v rest h.1]
-    simp only [length_append_sub, ↓reduceIte]
-t    rw [ih v rest h.1]
-    simp only [length_append_sub, ↓reduceIte]
-R    rw [ih v rest h.1]
-    simp only [length_append_sub, ↓reduceIte]
-a    rw [ih v rest h.1]
-    simp only [length_append_sub, ↓reduceIte]
-w    rw [ih v rest h.1]
-    simp only [length_append_sub, ↓reduceIte]
-_    rw [ih v rest h.1]
-    simp only [length_append_sub, ↓reduceIte]
-a    rw [ih v rest h.1]
-    simp only [length_append_sub, ↓reduceIte]
-p    rw [ih v rest h.1]
-    simp only [length_append_sub, ↓reduceIte]
-p    rw [ih v rest h.1]
-    simp only [length_append_sub, ↓reduceIte]
-e    rw [ih v rest h.1]
-    simp only [length_append_sub, ↓reduceIte]
-n    rw [ih v rest h.1]
-    simp only [length_append_sub, ↓reduceIte]
-d    rw [ih v rest h.1]
-    simp only [length_append_sub, ↓reduceIte]
-]    rw [ih v rest h.1]
-    simp only [length_append_sub, ↓reduceIte]
-;    rw [ih v rest h.1]
-    simp only [length_append_sub, ↓reduceIte]
-     rw [ih v rest h.1]
-    simp only [length_append_sub, ↓reduceIte]
-r    rw [ih v rest h.1]
-    simp only [length_append_sub, ↓reduceIte]
-f    rw [ih v rest h.1]
-    simp only [length_append_sub, ↓reduceIte]
-l    rw [ih v rest h.1]
-    simp only [length_append_sub, ↓reduceIte]
-
-    rw [ih v rest h.1]
-    simp only [length_append_sub, ↓reduceIte]
-
-    rw [ih v rest h.1]
-    simp only [length_append_sub, ↓reduceIte]
-/    rw [ih v rest h.1]
-    simp only [length_append_sub, ↓reduceIte]
--    rw [ih v rest h.1]
-    simp only [length_append_sub, ↓reduceIte]
-!    rw [ih v rest h.1]
-    simp only [length_append_sub, ↓reduceIte]
-     rw [ih v rest h.1]
-    simp only [length_append_sub, ↓reduceIte]
-#    rw [ih v rest h.1]
-    simp only [length_append_sub, ↓reduceIte]
-#    rw [ih v rest h.1]
-    simp only [length_append_sub, ↓reduceIte]
-#    rw [ih v rest h.1]
-    simp only [length_append_sub, ↓reduceIte]
-     rw [ih v rest h.1]
-    simp only [length_append_sub, ↓reduceIte]
-c    rw [ih v rest h.1]
-    simp only [length_append_sub, ↓reduceIte]
-o    rw [ih v rest h.1]
-    simp only [length_append_sub, ↓reduceIte]
-u    rw [ih v rest h.1]
-    simp only [length_append_sub, ↓reduceIte]
-n    rw [ih v rest h.1]
-    simp only [length_append_sub, ↓reduceIte]
-t    rw [ih v rest h.1]
-    simp only [length_append_sub, ↓reduceIte]
-s    rw [ih v rest h.1]
-    simp only [length_append_sub, ↓reduceIte]
-     rw [ih v rest h.1]
-    simp only [length_append_sub, ↓reduceIte]
--    rw [ih v rest h.1]
-    simp only [length_append_sub, ↓reduceIte]
-/    rw [ih v rest h.1]
-    simp only [length_append_sub, ↓reduceIte]
-
-    rw [ih v rest h.1]
-    simp only [length_append_sub, ↓reduceIte]
-
-    rw [ih v rest h.1]
-    simp only [length_append_sub, ↓reduceIte]
-t    rw [ih v rest h.1]
-    simp only [length_append_sub, ↓reduceIte]
-h    rw [ih v rest h.1]
-    simp only [length_append_sub, ↓reduceIte]
-e    rw [ih v rest h.1]
-    simp only [length_append_sub, ↓reduceIte]
-o    rw [ih v rest h.1]
-    simp only [length_append_sub, ↓reduceIte]
-r    rw [ih v rest h.1]
-    simp only [length_append_sub, ↓reduceIte]
-e    rw [ih v rest h.1]
-    simp only [length_append_sub, ↓reduceIte]
-m    rw [ih v rest h.1]
-    simp only [length_append_sub, ↓reduceIte]
-     rw [ih v rest h.1]
-    simp only [length_append_sub, ↓reduceIte]
-p    rw [ih v rest h.1]
-    simp only [length_append_sub, ↓reduceIte]
-r    rw [ih v rest h.1]
-    simp only [length_append_sub, ↓reduceIte]
-e    rw [ih v rest h.1]
-    simp only [length_append_sub, ↓reduceIte]
-p    rw [ih v rest h.1]
-    simp only [length_append_sub, ↓reduceIte]
-C    rw [ih v rest h.1]
-    simp only [length_append_sub, ↓reduceIte]
-o    rw [ih v rest h.1]
-    simp only [length_append_sub, ↓reduceIte]
-u    rw [ih v rest h.1]
-    simp only [length_append_sub, ↓reduceIte]
-n    rw [ih v rest h.1]
-    simp only [length_append_sub, ↓reduceIte]
-t    rw [ih v rest h.1]
-    simp only [length_append_sub, ↓reduceIte]
-_    rw [ih v rest h.1]
-    simp only [length_append_sub, ↓reduceIte]
-e    rw [ih v rest h.1]
-    simp only [length_append_sub, ↓reduceIte]
-q    rw [ih v rest h.1]
-    simp only [length_append_sub, ↓reduceIte]
-     rw [ih v rest h.1]
-    simp only [length_append_sub, ↓reduceIte]
-(    rw [ih v rest h.1]
-    simp only [length_append_sub, ↓reduceIte]
-c    rw [ih v rest h.1]
-    simp only [length_append_sub, ↓reduceIte]
-     rw [ih v rest h.1]
-    simp only [length_append_sub, ↓reduceIte]
-:    rw [ih v rest h.1]
-    simp only [length_append_sub, ↓reduceIte]
-     rw [ih v rest h.1]
-    simp only [length_append_sub, ↓reduceIte]
-C    rw [ih v rest h.1]
-    simp only [length_append_sub, ↓reduceIte]
-o    rw [ih v rest h.1]
-    simp only [length_append_sub, ↓reduceIte]
-u    rw [ih v rest h.1]
-    simp only [length_append_sub, ↓reduceIte]
-n    rw [ih v rest h.1]
-    simp only [length_append_sub, ↓reduceIte]
-t    rw [ih v rest h.1]
-    simp only [length_append_sub, ↓reduceIte]
-)    rw [ih v rest h.1]
-    simp only [length_append_sub, ↓reduceIte]
-     rw [ih v rest h.1]
-    simp only [length_append_sub, ↓reduceIte]
-(    rw [ih v rest h.1]
-    simp only [length_append_sub, ↓reduceIte]
-n    rw [ih v rest h.1]
-    simp only [length_append_sub, ↓reduceIte]
-     rw [ih v rest h.1]
-    simp only [length_append_sub, ↓reduceIte]
-:    rw [ih v rest h.1]
-    simp only [length_append_sub, ↓reduceIte]
-     rw [ih v rest h.1]
-    simp only [length_append_sub, ↓reduceIte]
-O    rw [ih v rest h.1]
-    simp only [length_append_sub, ↓reduceIte]
-p    rw [ih v rest h.1]
-    simp only [length_append_sub, ↓reduceIte]
-t    rw [ih v rest h.1]
-    simp only [length_append_sub, ↓reduceIte]
-i    rw [ih v rest h.1]
-    simp only [length_append_sub, ↓reduceIte]
-o    rw [ih v rest h.1]
-    simp only [length_append_sub, ↓reduceIte]
-n    rw [ih v rest h.1]
-    simp only [length_append_sub, ↓reduceIte]
-     rw [ih v rest h.1]
-    simp only [length_append_sub, ↓reduceIte]
-N    rw [ih v rest h.1]
-    simp only [length_append_sub, ↓reduceIte]
-a    rw [ih v rest h.1]
-    simp only [length_append_sub, ↓reduceIte]
-t    rw [ih v rest h.1]
-    simp only [length_append_sub, ↓reduceIte]
-)    rw [ih v rest h.1]
-    simp only [length_append_sub, ↓reduceIte]
-     rw [ih v rest h.1]
-    simp only [length_append_sub, ↓reduceIte]
-:    rw [ih v rest h.1]
-    simp only [length_append_sub, ↓reduceIte]
-     rw [ih v rest h.1]
-    simp only [length_append_sub, ↓reduceIte]
-p    rw [ih v rest h.1]
-    simp only [length_append_sub, ↓reduceIte]
-r    rw [ih v rest h.1]
-    simp only [length_append_sub, ↓reduceIte]
-e    rw [ih v rest h.1]
-    simp only [length_append_sub, ↓reduceIte]
-p    rw [ih v rest h.1]
-    simp only [length_append_sub, ↓reduceIte]
-C    rw [ih v rest h.1]
-    simp only [length_append_sub, ↓reduceIte]
-o    rw [ih v rest h.1]
-    simp only [length_append_sub, ↓reduceIte]
-u    rw [ih v rest h.1]
-    simp only [length_append_sub, ↓reduceIte]
-n    rw [ih v rest h.1]
-    simp only [length_append_sub, ↓reduceIte]
-t    rw [ih v rest h.1]
-    simp only [length_append_sub, ↓reduceIte]
-     rw [ih v rest h.1]
-    simp only [length_append_sub, ↓reduceIte]
-c    rw [ih v rest h.1]
-    simp only [length_append_sub, ↓reduceIte]
-     rw [ih v rest h.1]
-    simp only [length_append_sub, ↓reduceIte]
-n    rw [ih v rest h.1]
-    simp only [length_append_sub, ↓reduceIte]
-     rw [ih v rest h.1]
-    simp only [length_append_sub, ↓reduceIte]
-=    rw [ih v rest h.1]
-    simp only [length_append_sub, ↓reduceIte]
-     rw [ih v rest h.1]
-    simp only [length_append_sub, ↓reduceIte]
-(    rw [ih v rest h.1]
-    simp only [length_append_sub, ↓reduceIte]
-p    rw [ih v rest h.1]
-    simp only [length_append_sub, ↓reduceIte]
-u    rw [ih v rest h.1]
-    simp only [length_append_sub, ↓reduceIte]
-t    rw [ih v rest h.1]
-    simp only [length_append_sub, ↓reduceIte]
-C    rw [ih v rest h.1]
-    simp only [length_append_sub, ↓reduceIte]
-o    rw [ih v rest h.1]
-    simp only [length_append_sub, ↓reduceIte]
-u    rw [ih v rest h.1]
-    simp only [length_append_sub, ↓reduceIte]
-n    rw [ih v rest h.1]
-    simp only [length_append_sub, ↓reduceIte]
-t    rw [ih v rest h.1]
-    simp only [length_append_sub, ↓reduceIte]
-     rw [ih v rest h.1]
-    simp only [length_append_sub, ↓reduceIte]
-c    rw [ih v rest h.1]
-    simp only [length_append_sub, ↓reduceIte]
-     rw [ih v rest h.1]
-    simp only [length_append_sub, ↓reduceIte]
-n    rw [ih v rest h.1]
-    simp only [length_append_sub, ↓reduceIte]
-)    rw [ih v rest h.1]
-    simp only [length_append_sub, ↓reduceIte]
-.    rw [ih v rest h.1]
-    simp only [length_append_sub, ↓reduceIte]
-l    rw [ih v rest h.1]
-    simp only [length_append_sub, ↓reduceIte]
-e    rw [ih v rest h.1]
-    simp only [length_append_sub, ↓reduceIte]
-n    rw [ih v rest h.1]
-    simp only [length_append_sub, ↓reduceIte]
-g    rw [ih v rest h.1]
-    simp only [length_append_sub, ↓reduceIte]
-t    rw [ih v rest h.1]
-    simp only [length_append_sub, ↓reduceIte]
-h    rw [ih v rest h.1]
-    simp only [length_append_sub, ↓reduceIte]
-     rw [ih v rest h.1]
-    simp only [length_append_sub, ↓reduceIte]
-:    rw [ih v rest h.1]
-    simp only [length_append_sub, ↓reduceIte]
-=    rw [ih v rest h.1]
-    simp only [length_append_sub, ↓reduceIte]
-     rw [ih v rest h.1]
-    simp only [length_append_sub, ↓reduceIte]
-b    rw [ih v rest h.1]
-    simp only [length_append_sub, ↓reduceIte]
-y    rw [ih v rest h.1]
-    simp only [length_append_sub, ↓reduceIte]
-
-    rw [ih v rest h.1]
-    simp only [length_append_sub, ↓reduceIte]
-     rw [ih v rest h.1]
-    simp only [length_append_sub, ↓reduceIte]
-     rw [ih v rest h.1]
-    simp only [length_append_sub, ↓reduceIte]
-c    rw [ih v rest h.1]
-    simp only [length_append_sub, ↓reduceIte]
-a    rw [ih v rest h.1]
-    simp only [length_append_sub, ↓reduceIte]
-s    rw [ih v rest h.1]
-    simp only [length_append_sub, ↓reduceIte]
-e    rw [ih v rest h.1]
-    simp only [length_append_sub, ↓reduceIte]
-s    rw [ih v rest h.1]
-    simp only [length_append_sub, ↓reduceIte]
-     rw [ih v rest h.1]
-    simp only [length_append_sub, ↓reduceIte]
-c    rw [ih v rest h.1]
-    simp only [length_append_sub, ↓reduceIte]
-     rw [ih v rest h.1]
-    simp only [length_append_sub, ↓reduceIte]
-<    rw [ih v rest h.1]
-    simp only [length_append_sub, ↓reduceIte]
-;    rw [ih v rest h.1]
-    simp only [length_append_sub, ↓reduceIte]
->    rw [ih v rest h.1]
-    simp only [length_append_sub, ↓reduceIte]
-     rw [ih v rest h.1]
-    simp only [length_append_sub, ↓reduceIte]
-c    rw [ih v rest h.1]
-    simp only [length_append_sub, ↓reduceIte]
-a    rw [ih v rest h.1]
-    simp only [length_append_sub, ↓reduceIte]
-s    rw [ih v rest h.1]
-    simp only [length_append_sub, ↓reduceIte]
-e    rw [ih v rest h.1]
-    simp only [length_append_sub, ↓reduceIte]
-s    rw [ih v rest h.1]
-    simp only [length_append_sub, ↓reduceIte]
-     rw [ih v rest h.1]
-    simp only [length_append_sub, ↓reduceIte]
-n    rw [ih v rest h.1]
-    simp only [length_append_sub, ↓reduceIte]
-     rw [ih v rest h.1]
-    simp only [length_append_sub, ↓reduceIte]
-<    rw [ih v rest h.1]
-    simp only [length_append_sub, ↓reduceIte]
-;    rw [ih v rest h.1]
-    simp only [length_append_sub, ↓reduceIte]
->    rw [ih v rest h.1]
-    simp only [length_append_sub, ↓reduceIte]
-
-    rw [ih v rest h.1]
-    simp only [length_append_sub, ↓reduceIte]
-     rw [ih v rest h.1]
-    simp only [length_append_sub, ↓reduceIte]
-     rw [ih v rest h.1]
-    simp only [length_append_sub, ↓reduceIte]
-     rw [ih v rest h.1]
-    simp only [length_append_sub, ↓reduceIte]
-     rw [ih v rest h.1]
-    simp only [length_append_sub, ↓reduceIte]
-s    rw [ih v rest h.1]
-    simp only [length_append_sub, ↓reduceIte]
-i    rw [ih v rest h.1]
-    simp only [length_append_sub, ↓reduceIte]
-m    rw [ih v rest h.1]
-    simp only [length_append_sub, ↓reduceIte]
-p    rw [ih v rest h.1]
-    simp only [length_append_sub, ↓reduceIte]
-     rw [ih v rest h.1]
-    simp only [length_append_sub, ↓reduceIte]
-[    rw [ih v rest h.1]
-    simp only [length_append_sub, ↓reduceIte]
-p    rw [ih v rest h.1]
-    simp only [length_append_sub, ↓reduceIte]
-r    rw [ih v rest h.1]
-    simp only [length_append_sub, ↓reduceIte]
-e    rw [ih v rest h.1]
-    simp only [length_append_sub, ↓reduceIte]
-p    rw [ih v rest h.1]
-    simp only [length_append_sub, ↓reduceIte]
-C    rw [ih v rest h.1]
-    simp only [length_append_sub, ↓reduceIte]
-o    rw [ih v rest h.1]
-    simp only [length_append_sub, ↓reduceIte]
-u    rw [ih v rest h.1]
-    simp only [length_append_sub, ↓reduceIte]
-n    rw [ih v rest h.1]
-    simp only [length_append_sub, ↓reduceIte]
-t    rw [ih v rest h.1]
-    simp only [length_append_sub, ↓reduceIte]
-,    rw [ih v rest h.1]
-    simp only [length_append_sub, ↓reduceIte]
-     rw [ih v rest h.1]
-    simp only [length_append_sub, ↓reduceIte]
-p    rw [ih v rest h.1]
-    simp only [length_append_sub, ↓reduceIte]
-u    rw [ih v rest h.1]
-    simp only [length_append_sub, ↓reduceIte]
-t    rw [ih v rest h.1]
-    simp only [length_append_sub, ↓reduceIte]
-C    rw [ih v rest h.1]
-    simp only [length_append_sub, ↓reduceIte]
-o    rw [ih v rest h.1]
-    simp only [length_append_sub, ↓reduceIte]
-u    rw [ih v rest h.1]
-    simp only [length_append_sub, ↓reduceIte]
-n    rw [ih v rest h.1]
-    simp only [length_append_sub, ↓reduceIte]
-t    rw [ih v rest h.1]
-    simp only [length_append_sub, ↓reduceIte]
-,    rw [ih v rest h.1]
-    simp only [length_append_sub, ↓reduceIte]
-     rw [ih v rest h.1]
-    simp only [length_append_sub, ↓reduceIte]
-p    rw [ih v rest h.1]
-    simp only [length_append_sub, ↓reduceIte]
-u    rw [ih v rest h.1]
-    simp only [length_append_sub, ↓reduceIte]
-t    rw [ih v rest h.1]
-    simp only [length_append_sub, ↓reduceIte]
-A    rw [ih v rest h.1]
-    simp only [length_append_sub, ↓reduceIte]
-r    rw [ih v rest h.1]
-    simp only [length_append_sub, ↓reduceIte]
-r    rw [ih v rest h.1]
-    simp only [length_append_sub, ↓reduceIte]
-a    rw [ih v rest h.1]
-    simp only [length_append_sub, ↓reduceIte]
-y    rw [ih v rest h.1]
-    simp only [length_append_sub, ↓reduceIte]
-L    rw [ih v rest h.1]
-    simp only [length_append_sub, ↓reduceIte]
-e    rw [ih v rest h.1]
-    simp only [length_append_sub, ↓reduceIte]
-n    rw [ih v rest h.1]
-    simp only [length_append_sub, ↓reduceIte]
-g    rw [ih v rest h.1]
-    simp only [length_append_sub, ↓reduceIte]
-t    rw [ih v rest h.1]
-    simp only [length_append_sub, ↓reduceIte]
-h    rw [ih v rest h.1]
-    simp only [length_append_sub, ↓reduceIte]
-,    rw [ih v rest h.1]
-    simp only [length_append_sub, ↓reduceIte]
-     rw [ih v rest h.1]
-    simp only [length_append_sub, ↓reduceIte]
-p    rw [ih v rest h.1]
-    simp only [length_append_sub, ↓reduceIte]
-u    rw [ih v rest h.1]
-    simp only [length_append_sub, ↓reduceIte]
-t    rw [ih v rest h.1]
-    simp only [length_append_sub, ↓reduceIte]
-I    rw [ih v rest h.1]
-    simp only [length_append_sub, ↓reduceIte]
-n    rw [ih v rest h.1]
-    simp only [length_append_sub, ↓reduceIte]
-t    rw [ih v rest h.1]
-    simp only [length_append_sub, ↓reduceIte]
-_    rw [ih v rest h.1]
-    simp only [length_append_sub, ↓reduceIte]
-l    rw [ih v rest h.1]
-    simp only [length_append_sub, ↓reduceIte]
-e    rw [ih v rest h.1]
-    simp only [length_append_sub, ↓reduceIte]
-n    rw [ih v rest h.1]
-    simp only [length_append_sub, ↓reduceIte]
-g    rw [ih v rest h.1]
-    simp only [length_append_sub, ↓reduceIte]
-t    rw [ih v rest h.1]
-    simp only [length_append_sub, ↓reduceIte]
-h    rw [ih v rest h.1]
-    simp only [length_append_sub, ↓reduceIte]
-,    rw [ih v rest h.1]
-    simp only [length_append_sub, ↓reduceIte]
-     rw [ih v rest h.1]
-    simp only [length_append_sub, ↓reduceIte]
-p    rw [ih v rest h.1]
-    simp only [length_append_sub, ↓reduceIte]
-u    rw [ih v rest h.1]
-    simp only [length_append_sub, ↓reduceIte]
-t    rw [ih v rest h.1]
-    simp only [length_append_sub, ↓reduceIte]
-C    rw [ih v rest h.1]
-    simp only [length_append_sub, ↓reduceIte]
-o    rw [ih v rest h.1]
-    simp only [length_append_sub, ↓reduceIte]
-m    rw [ih v rest h.1]
-    simp only [length_append_sub, ↓reduceIte]
-p    rw [ih v rest h.1]
-    simp only [length_append_sub, ↓reduceIte]
-a    rw [ih v rest h.1]
-    simp only [length_append_sub, ↓reduceIte]
-c    rw [ih v rest h.1]
-    simp only [length_append_sub, ↓reduceIte]
-t    rw [ih v rest h.1]
-    simp only [length_append_sub, ↓reduceIte]
-A    rw [ih v rest h.1]
-    simp only [length_append_sub, ↓reduceIte]
-r    rw [ih v rest h.1]
-    simp only [length_append_sub, ↓reduceIte]
-r    rw [ih v rest h.1]
-    simp only [length_append_sub, ↓reduceIte]
-a    rw [ih v rest h.1]
-    simp only [length_append_sub, ↓reduceIte]
-y    rw [ih v rest h.1]
-    simp only [length_append_sub, ↓reduceIte]
-L    rw [ih v rest h.1]
-    simp only [length_append_sub, ↓reduceIte]
-e    rw [ih v rest h.1]
-    simp only [length_append_sub, ↓reduceIte]
-n    rw [ih v rest h.1]
-    simp only [length_append_sub, ↓reduceIte]
-g    rw [ih v rest h.1]
-    simp only [length_append_sub, ↓reduceIte]
-t    rw [ih v rest h.1]
-    simp only [length_append_sub, ↓reduceIte]
-h    rw [ih v rest h.1]
-    simp only [length_append_sub, ↓reduceIte]
-,    rw [ih v rest h.1]
-    simp only [length_append_sub, ↓reduceIte]
-     rw [ih v rest h.1]
-    simp only [length_append_sub, ↓reduceIte]
-p    rw [ih v rest h.1]
-    simp only [length_append_sub, ↓reduceIte]
-r    rw [ih v rest h.1]
-    simp only [length_append_sub, ↓reduceIte]
-e    rw [ih v rest h.1]
-    simp only [length_append_sub, ↓reduceIte]
-p    rw [ih v rest h.1]
-    simp only [length_append_sub, ↓reduceIte]
-U    rw [ih v rest h.1]
-    simp only [length_append_sub, ↓reduceIte]
-V    rw [ih v rest h.1]
-    simp only [length_append_sub, ↓reduceIte]
-a    rw [ih v rest h.1]
-    simp only [length_append_sub, ↓reduceIte]
-r    rw [ih v rest h.1]
-    simp only [length_append_sub, ↓reduceIte]
-i    rw [ih v rest h.1]
-    simp only [length_append_sub, ↓reduceIte]
-n    rw [ih v rest h.1]
-    simp only [length_append_sub, ↓reduceIte]
-t    rw [ih v rest h.1]
-    simp only [length_append_sub, ↓reduceIte]
-,    rw [ih v rest h.1]
-    simp only [length_append_sub, ↓reduceIte]
-     rw [ih v rest h.1]
-    simp only [length_append_sub, ↓reduceIte]
-p    rw [ih v rest h.1]
-    simp only [length_append_sub, ↓reduceIte]
-r    rw [ih v rest h.1]
-    simp only [length_append_sub, ↓reduceIte]
-e    rw [ih v rest h.1]
-    simp only [length_append_sub, ↓reduceIte]
-p    rw [ih v rest h.1]
-    simp only [length_append_sub, ↓reduceIte]
-V    rw [ih v rest h.1]
-    simp only [length_append_sub, ↓reduceIte]
-a    rw [ih v rest h.1]
-    simp only [length_append_sub, ↓reduceIte]
-r    rw [ih v rest h.1]
-    simp only [length_append_sub, ↓reduceIte]
-i    rw [ih v rest h.1]
-    simp only [length_append_sub, ↓reduceIte]
-n    rw [ih v rest h.1]
-    simp only [length_append_sub, ↓reduceIte]
-t    rw [ih v rest h.1]
-    simp only [length_append_sub, ↓reduceIte]
-]    rw [ih v rest h.1]
-    simp only [length_append_sub, ↓reduceIte]
-
-    rw [ih v rest h.1]
-    simp only [length_append_sub, ↓reduceIte]
-
-    rw [ih v rest h.1]
-    simp only [length_append_sub, ↓reduceIte]
-t    rw [ih v rest h.1]
-    simp only [length_append_sub, ↓reduceIte]
-h    rw [ih v rest h.1]
-    simp only [length_append_sub, ↓reduceIte]
-e    rw [ih v rest h.1]
-    simp only [length_append_sub, ↓reduceIte]
-o    rw [ih v rest h.1]
-    simp only [length_append_sub, ↓reduceIte]
-r    rw [ih v rest h.1]
-    simp only [length_append_sub, ↓reduceIte]
-e    rw [ih v rest h.1]
-    simp only [length_append_sub, ↓reduceIte]
-m    rw [ih v rest h.1]
-    simp only [length_append_sub, ↓reduceIte]
-     rw [ih v rest h.1]
-    simp only [length_append_sub, ↓reduceIte]
-g    rw [ih v rest h.1]
-    simp only [length_append_sub, ↓reduceIte]
-e    rw [ih v rest h.1]
-    simp only [length_append_sub, ↓reduceIte]
-t    rw [ih v rest h.1]
-    simp only [length_append_sub, ↓reduceIte]
-C    rw [ih v rest h.1]
-    simp only [length_append_sub, ↓reduceIte]
-o    rw [ih v rest h.1]
-    simp only [length_append_sub, ↓reduceIte]
-u    rw [ih v rest h.1]
-    simp only [length_append_sub, ↓reduceIte]
-n    rw [ih v rest h.1]
-    simp only [length_append_sub, ↓reduceIte]
-t    rw [ih v rest h.1]
-    simp only [length_append_sub, ↓reduceIte]
-_    rw [ih v rest h.1]
-    simp only [length_append_sub, ↓reduceIte]
-p    rw [ih v rest h.1]
-    simp only [length_append_sub, ↓reduceIte]
-u    rw [ih v rest h.1]
-    simp only [length_append_sub, ↓reduceIte]
-t    rw [ih v rest h.1]
-    simp only [length_append_sub, ↓reduceIte]
-C    rw [ih v rest h.1]
-    simp only [length_append_sub, ↓reduceIte]
-o    rw [ih v rest h.1]
-    simp only [length_append_sub, ↓reduceIte]
-u    rw [ih v rest h.1]
-    simp only [length_append_sub, ↓reduceIte]
-n    rw [ih v rest h.1]
-    simp only [length_append_sub, ↓reduceIte]
-t    rw [ih v rest h.1]
-    simp only [length_append_sub, ↓reduceIte]
-_    rw [ih v rest h.1]
-    simp only [length_append_sub, ↓reduceIte]
-s    rw [ih v rest h.1]
-    simp only [length_append_sub, ↓reduceIte]
-o    rw [ih v rest h.1]
-    simp only [length_append_sub, ↓reduceIte]
-m    rw [ih v rest h.1]
-    simp only [length_append_sub, ↓reduceIte]
-e    rw [ih v rest h.1]
-    simp only [length_append_sub, ↓reduceIte]
-     rw [ih v rest h.1]
-    simp only [length_append_sub, ↓reduceIte]
-(    rw [ih v rest h.1]
-    simp only [length_append_sub, ↓reduceIte]
-c    rw [ih v rest h.1]
-    simp only [length_append_sub, ↓reduceIte]
-     rw [ih v rest h.1]
-    simp only [length_append_sub, ↓reduceIte]
-:    rw [ih v rest h.1]
-    simp only [length_append_sub, ↓reduceIte]
-     rw [ih v rest h.1]
-    simp only [length_append_sub, ↓reduceIte]
-C    rw [ih v rest h.1]
-    simp only [length_append_sub, ↓reduceIte]
-o    rw [ih v rest h.1]
-    simp only [length_append_sub, ↓reduceIte]
-u    rw [ih v rest h.1]
-    simp only [length_append_sub, ↓reduceIte]
-n    rw [ih v rest h.1]
-    simp only [length_append_sub, ↓reduceIte]
-t    rw [ih v rest h.1]
-    simp only [length_append_sub, ↓reduceIte]
-)    rw [ih v rest h.1]
-    simp only [length_append_sub, ↓reduceIte]
-     rw [ih v rest h.1]
-    simp only [length_append_sub, ↓reduceIte]
-(    rw [ih v rest h.1]
-    simp only [length_append_sub, ↓reduceIte]
-n    rw [ih v rest h.1]
-    simp only [length_append_sub, ↓reduceIte]
-     rw [ih v rest h.1]
-    simp only [length_append_sub, ↓reduceIte]
-:    rw [ih v rest h.1]
-    simp only [length_append_sub, ↓reduceIte]
-     rw [ih v rest h.1]
-    simp only [length_append_sub, ↓reduceIte]
-N    rw [ih v rest h.1]
-    simp only [length_append_sub, ↓reduceIte]
-a    rw [ih v rest h.1]
-    simp only [length_append_sub, ↓reduceIte]
-t    rw [ih v rest h.1]
-    simp only [length_append_sub, ↓reduceIte]
-)    rw [ih v rest h.1]
-    simp only [length_append_sub, ↓reduceIte]
-     rw [ih v rest h.1]
-    simp only [length_append_sub, ↓reduceIte]
-(    rw [ih v rest h.1]
-    simp only [length_append_sub, ↓reduceIte]
-b    rw [ih v rest h.1]
-    simp only [length_append_sub, ↓reduceIte]
-o    rw [ih v rest h.1]
-    simp only [length_append_sub, ↓reduceIte]
-d    rw [ih v rest h.1]
-    simp only [length_append_sub, ↓reduceIte]
-y    rw [ih v rest h.1]
-    simp only [length_append_sub, ↓reduceIte]
-     rw [ih v rest h.1]
-    simp only [length_append_sub, ↓reduceIte]
-r    rw [ih v rest h.1]
-    simp only [length_append_sub, ↓reduceIte]
-e    rw [ih v rest h.1]
-    simp only [length_append_sub, ↓reduceIte]
-s    rw [ih v rest h.1]
-    simp only [length_append_sub, ↓reduceIte]
-t    rw [ih v rest h.1]
-    simp only [length_append_sub, ↓reduceIte]
-     rw [ih v rest h.1]
-    simp only [length_append_sub, ↓reduceIte]
-:    rw [ih v rest h.1]
-    simp only [length_append_sub, ↓reduceIte]
-     rw [ih v rest h.1]
-    simp only [length_append_sub, ↓reduceIte]
-B    rw [ih v rest h.1]
-    simp only [length_append_sub, ↓reduceIte]
-y    rw [ih v rest h.1]
-    simp only [length_append_sub, ↓reduceIte]
-t    rw [ih v rest h.1]
-    simp only [length_append_sub, ↓reduceIte]
-e    rw [ih v rest h.1]
-    simp only [length_append_sub, ↓reduceIte]
-s    rw [ih v rest h.1]
-    simp only [length_append_sub, ↓reduceIte]
-)    rw [ih v rest h.1]
-    simp only [length_append_sub, ↓reduceIte]
-
-    rw [ih v rest h.1]
-    simp only [length_append_sub, ↓reduceIte]
-     rw [ih v rest h.1]
-    simp only [length_append_sub, ↓reduceIte]
-     rw [ih v rest h.1]
-    simp only [length_append_sub, ↓reduceIte]
-     rw [ih v rest h.1]
-    simp only [length_append_sub, ↓reduceIte]
-     rw [ih v rest h.1]
-    simp only [length_append_sub, ↓reduceIte]
-(    rw [ih v rest h.1]
-    simp only [length_append_sub, ↓reduceIte]
-h    rw [ih v rest h.1]
-    simp only [length_append_sub, ↓reduceIte]
-     rw [ih v rest h.1]
-    simp only [length_append_sub, ↓reduceIte]
-:    rw [ih v rest h.1]
-    simp only [length_append_sub, ↓reduceIte]
-     rw [ih v rest h.1]
-    simp only [length_append_sub, ↓reduceIte]
-c    rw [ih v rest h.1]
-    simp only [length_append_sub, ↓reduceIte]
-o    rw [ih v rest h.1]
-    simp only [length_append_sub, ↓reduceIte]
-u    rw [ih v rest h.1]
-    simp only [length_append_sub, ↓reduceIte]
-n    rw [ih v rest h.1]
-    simp only [length_append_sub, ↓reduceIte]
-t    rw [ih v rest h.1]
-    simp only [length_append_sub, ↓reduceIte]
-O    rw [ih v rest h.1]
-    simp only [length_append_sub, ↓reduceIte]
-K    rw [ih v rest h.1]
-    simp only [length_append_sub, ↓reduceIte]
-     rw [ih v rest h.1]
-    simp only [length_append_sub, ↓reduceIte]
-c    rw [ih v rest h.1]
-    simp only [length_append_sub, ↓reduceIte]
-     rw [ih v rest h.1]
-    simp only [length_append_sub, ↓reduceIte]
-n    rw [ih v rest h.1]
-    simp only [length_append_sub, ↓reduceIte]
-     rw [ih v rest h.1]
-    simp only [length_append_sub, ↓reduceIte]
-b    rw [ih v rest h.1]
-    simp only [length_append_sub, ↓reduceIte]
-o    rw [ih v rest h.1]
-    simp only [length_append_sub, ↓reduceIte]
-d    rw [ih v rest h.1]
-    simp only [length_append_sub, ↓reduceIte]
-y    rw [ih v rest h.1]
-    simp only [length_append_sub, ↓reduceIte]
-.    rw [ih v rest h.1]
-    simp only [length_append_sub, ↓reduceIte]
-l    rw [ih v rest h.1]
-    simp only [length_append_sub, ↓reduceIte]
-e    rw [ih v rest h.1]
-    simp only [length_append_sub, ↓reduceIte]
-n    rw [ih v rest h.1]
-    simp only [length_append_sub, ↓reduceIte]
-g    rw [ih v rest h.1]
-    simp only [length_append_sub, ↓reduceIte]
-t    rw [ih v rest h.1]
-    simp only [length_append_sub, ↓reduceIte]
-h    rw [ih v rest h.1]
-    simp only [length_append_sub, ↓reduceIte]
-     rw [ih v rest h.1]
-    simp only [length_append_sub, ↓reduceIte]
-=    rw [ih v rest h.1]
-    simp only [length_append_sub, ↓reduceIte]
-     rw [ih v rest h.1]
-    simp only [length_append_sub, ↓reduceIte]
-t    rw [ih v rest h.1]
-    simp only [length_append_sub, ↓reduceIte]
-r    rw [ih v rest h.1]
-    simp only [length_append_sub, ↓reduceIte]
-u    rw [ih v rest h.1]
-    simp only [length_append_sub, ↓reduceIte]
-e    rw [ih v rest h.1]
-    simp only [length_append_sub, ↓reduceIte]
-)    rw [ih v rest h.1]
-    simp only [length_append_sub, ↓reduceIte]
-     rw [ih v rest h.1]
-    simp only [length_append_sub, ↓reduceIte]
-:    rw [ih v rest h.1]
-    simp only [length_append_sub, ↓reduceIte]
-
-    rw [ih v rest h.1]
-    simp only [length_append_sub, ↓reduceIte]
-     rw [ih v rest h.1]
-    simp only [length_append_sub, ↓reduceIte]
-     rw [ih v rest h.1]
-    simp only [length_append_sub, ↓reduceIte]
-     rw [ih v rest h.1]
-    simp only [length_append_sub, ↓reduceIte]
-     rw [ih v rest h.1]
-    simp only [length_append_sub, ↓reduceIte]
-g    rw [ih v rest h.1]
-    simp only [length_append_sub, ↓reduceIte]
-e    rw [ih v rest h.1]
-    simp only [length_append_sub, ↓reduceIte]
-t    rw [ih v rest h.1]
-    simp only [length_append_sub, ↓reduceIte]
-C    rw [ih v rest h.1]
-    simp only [length_append_sub, ↓reduceIte]
-o    rw [ih v rest h.1]
-    simp only [length_append_sub, ↓reduceIte]
-u    rw [ih v rest h.1]
-    simp only [length_append_sub, ↓reduceIte]
-n    rw [ih v rest h.1]
-    simp only [length_append_sub, ↓reduceIte]
-t    rw [ih v rest h.1]
-    simp only [length_append_sub, ↓reduceIte]
-     rw [ih v rest h.1]
-    simp only [length_append_sub, ↓reduceIte]
-c    rw [ih v rest h.1]
-    simp only [length_append_sub, ↓reduceIte]
-     rw [ih v rest h.1]
-    simp only [length_append_sub, ↓reduceIte]
-(    rw [ih v rest h.1]
-    simp only [length_append_sub, ↓reduceIte]
-p    rw [ih v rest h.1]
-    simp only [length_append_sub, ↓reduceIte]
-u    rw [ih v rest h.1]
-    simp only [length_append_sub, ↓reduceIte]
-t    rw [ih v rest h.1]
-    simp only [length_append_sub, ↓reduceIte]
-C    rw [ih v rest h.1]
-    simp only [length_append_sub, ↓reduceIte]
-o    rw [ih v rest h.1]
-    simp only [length_append_sub, ↓reduceIte]
-u    rw [ih v rest h.1]
-    simp only [length_append_sub, ↓reduceIte]
-n    rw [ih v rest h.1]
-    simp only [length_append_sub, ↓reduceIte]
-t    rw [ih v rest h.1]
-    simp only [length_append_sub, ↓reduceIte]
-     rw [ih v rest h.1]
-    simp only [length_append_sub, ↓reduceIte]
-c    rw [ih v rest h.1]
-    simp only [length_append_sub, ↓reduceIte]
-     rw [ih v rest h.1]
-    simp only [length_append_sub, ↓reduceIte]
-(    rw [ih v rest h.1]
-    simp only [length_append_sub, ↓reduceIte]
-s    rw [ih v rest h.1]
-    simp only [length_append_sub, ↓reduceIte]
-o    rw [ih v rest h.1]
-    simp only [length_append_sub, ↓reduceIte]
-m    rw [ih v rest h.1]
-    simp only [length_append_sub, ↓reduceIte]
-e    rw [ih v rest h.1]
-    simp only [length_append_sub, ↓reduceIte]
-     rw [ih v rest h.1]
-    simp only [length_append_sub, ↓reduceIte]
-n    rw [ih v rest h.1]
-    simp only [length_append_sub, ↓reduceIte]
-)    rw [ih v rest h.1]
-    simp only [length_append_sub, ↓reduceIte]
-     rw [ih v rest h.1]
-    simp only [length_append_sub, ↓reduceIte]
-+    rw [ih v rest h.1]
-    simp only [length_append_sub, ↓reduceIte]
-+    rw [ih v rest h.1]
-    simp only [length_append_sub, ↓reduceIte]
-     rw [ih v rest h.1]
-    simp only [length_append_sub, ↓reduceIte]
-(    rw [ih v rest h.1]
-    simp only [length_append_sub, ↓reduceIte]
-b    rw [ih v rest h.1]
-    simp only [length_append_sub, ↓reduceIte]
-o    rw [ih v rest h.1]
-    simp only [length_append_sub, ↓reduceIte]
-d    rw [ih v rest h.1]
-    simp only [length_append_sub, ↓reduceIte]
-y    rw [ih v rest h.1]
-    simp only [length_append_sub, ↓reduceIte]
-     rw [ih v rest h.1]
-    simp only [length_append_sub, ↓reduceIte]
-+    rw [ih v rest h.1]
-    simp only [length_append_sub, ↓reduceIte]
-+    rw [ih v rest h.1]
-    simp only [length_append_sub, ↓reduceIte]
-     rw [ih v rest h.1]
-    simp only [length_append_sub, ↓reduceIte]
-r    rw [ih v rest h.1]
-    simp only [length_append_sub, ↓reduceIte]
-e    rw [ih v rest h.1]
-    simp only [length_append_sub, ↓reduceIte]
-s    rw [ih v rest h.1]
-    simp only [length_append_sub, ↓reduceIte]
-t    rw [ih v rest h.1]
-    simp only [length_append_sub, ↓reduceIte]
-)    rw [ih v rest h.1]
-    simp only [length_append_sub, ↓reduceIte]
-)    rw [ih v rest h.1]
-    simp only [length_append_sub, ↓reduceIte]
-     rw [ih v rest h.1]
-    simp only [length_append_sub, ↓reduceIte]
-=    rw [ih v rest h.1]
-    simp only [length_append_sub, ↓reduceIte]
-     rw [ih v rest h.1]
-    simp only [length_append_sub, ↓reduceIte]
-s    rw [ih v rest h.1]
-    simp only [length_append_sub, ↓reduceIte]
-o    rw [ih v rest h.1]
-    simp only [length_append_sub, ↓reduceIte]
-m    rw [ih v rest h.1]
-    simp only [length_append_sub, ↓reduceIte]
-e    rw [ih v rest h.1]
-    simp only [length_append_sub, ↓reduceIte]
-     rw [ih v rest h.1]
-    simp only [length_append_sub, ↓reduceIte]
-(    rw [ih v rest h.1]
-    simp only [length_append_sub, ↓reduceIte]
-s    rw [ih v rest h.1]
-    simp only [length_append_sub, ↓reduceIte]
-o    rw [ih v rest h.1]
-    simp only [length_append_sub, ↓reduceIte]
-m    rw [ih v rest h.1]
-    simp only [length_append_sub, ↓reduceIte]
-e    rw [ih v rest h.1]
-    simp only [length_append_sub, ↓reduceIte]
-     rw [ih v rest h.1]
-    simp only [length_append_sub, ↓reduceIte]
-n    rw [ih v rest h.1]
-    simp only [length_append_sub, ↓reduceIte]
-,    rw [ih v rest h.1]
-    simp only [length_append_sub, ↓reduceIte]
-     rw [ih v rest h.1]
-    simp only [length_append_sub, ↓reduceIte]
-b    rw [ih v rest h.1]
-    simp only [length_append_sub, ↓reduceIte]
-o    rw [ih v rest h.1]
-    simp only [length_append_sub, ↓reduceIte]
-d    rw [ih v rest h.1]
-    simp only [length_append_sub, ↓reduceIte]
-y    rw [ih v rest h.1]
-    simp only [length_append_sub, ↓reduceIte]
-     rw [ih v rest h.1]
-    simp only [length_append_sub, ↓reduceIte]
-+    rw [ih v rest h.1]
-    simp only [length_append_sub, ↓reduceIte]
-+    rw [ih v rest h.1]
-    simp only [length_append_sub, ↓reduceIte]
-     rw [ih v rest h.1]
-    simp only [length_append_sub, ↓reduceIte]
-r    rw [ih v rest h.1]
-    simp only [length_append_sub, ↓reduceIte]
-e    rw [ih v rest h.1]
-    simp only [length_append_sub, ↓reduceIte]
-s    rw [ih v rest h.1]
-    simp only [length_append_sub, ↓reduceIte]
-t    rw [ih v rest h.1]
-    simp only [length_append_sub, ↓reduceIte]
-)    rw [ih v rest h.1]
-    simp only [length_append_sub, ↓reduceIte]
-     rw [ih v rest h.1]
-    simp only [length_append_sub, ↓reduceIte]
-:    rw [ih v rest h.1]
-    simp only [length_append_sub, ↓reduceIte]
-=    rw [ih v rest h.1]
-    simp only [length_append_sub, ↓reduceIte]
-     rw [ih v rest h.1]
-    simp only [length_append_sub, ↓reduceIte]
-b    rw [ih v rest h.1]
-    simp only [length_append_sub, ↓reduceIte]
-y    rw [ih v rest h.1]
-    simp only [length_append_sub, ↓reduceIte]
-
-    rw [ih v rest h.1]
-    simp only [length_append_sub, ↓reduceIte]
-     rw [ih v rest h.1]
-    simp only [length_append_sub, ↓reduceIte]
-     rw [ih v rest h.1]
-    simp only [length_append_sub, ↓reduceIte]
-c    rw [ih v rest h.1]
-    simp only [length_append_sub, ↓reduceIte]
-a    rw [ih v rest h.1]
-    simp only [length_append_sub, ↓reduceIte]
-s    rw [ih v rest h.1]
-    simp only [length_append_sub, ↓reduceIte]
-e    rw [ih v rest h.1]
-    simp only [length_append_sub, ↓reduceIte]
-s    rw [ih v rest h.1]
-    simp only [length_append_sub, ↓reduceIte]
-     rw [ih v rest h.1]
-    simp only [length_append_sub, ↓reduceIte]
-c    rw [ih v rest h.1]
-    simp only [length_append_sub, ↓reduceIte]
-     rw [ih v rest h.1]
-    simp only [length_append_sub, ↓reduceIte]
-<    rw [ih v rest h.1]
-    simp only [length_append_sub, ↓reduceIte]
-;    rw [ih v rest h.1]
-    simp only [length_append_sub, ↓reduceIte]
->    rw [ih v rest h.1]
-    simp only [length_append_sub, ↓reduceIte]
-     rw [ih v rest h.1]
-    simp only [length_append_sub, ↓reduceIte]
-s    rw [ih v rest h.1]
-    simp only [length_append_sub, ↓reduceIte]
-i    rw [ih v rest h.1]
-    simp only [length_append_sub, ↓reduceIte]
-m    rw [ih v rest h.1]
-    simp only [length_append_sub, ↓reduceIte]
-p    rw [ih v rest h.1]
-    simp only [length_append_sub, ↓reduceIte]
-     rw [ih v rest h.1]
-    simp only [length_append_sub, ↓reduceIte]
-o    rw [ih v rest h.1]
-    simp only [length_append_sub, ↓reduceIte]
-n    rw [ih v rest h.1]
-    simp only [length_append_sub, ↓reduceIte]
-l    rw [ih v rest h.1]
-    simp only [length_append_sub, ↓reduceIte]
-y    rw [ih v rest h.1]
-    simp only [length_append_sub, ↓reduceIte]
-     rw [ih v rest h.1]
-    simp only [length_append_sub, ↓reduceIte]
-[    rw [ih v rest h.1]
-    simp only [length_append_sub, ↓reduceIte]
-g    rw [ih v rest h.1]
-    simp only [length_append_sub, ↓reduceIte]
-e    rw [ih v rest h.1]
-    simp only [length_append_sub, ↓reduceIte]
-t    rw [ih v rest h.1]
-    simp only [length_append_sub, ↓reduceIte]
-C    rw [ih v rest h.1]
-    simp only [length_append_sub, ↓reduceIte]
-o    rw [ih v rest h.1]
-    simp only [length_append_sub, ↓reduceIte]
-u    rw [ih v rest h.1]
-    simp only [length_append_sub, ↓reduceIte]
-n    rw [ih v rest h.1]
-    simp only [length_append_sub, ↓reduceIte]
-t    rw [ih v rest h.1]
-    simp only [length_append_sub, ↓reduceIte]
-,    rw [ih v rest h.1]
-    simp only [length_append_sub, ↓reduceIte]
-     rw [ih v rest h.1]
-    simp only [length_append_sub, ↓reduceIte]
-p    rw [ih v rest h.1]
-    simp only [length_append_sub, ↓reduceIte]
-u    rw [ih v rest h.1]
-    simp only [length_append_sub, ↓reduceIte]
-t    rw [ih v rest h.1]
-    simp only [length_append_sub, ↓reduceIte]
-C    rw [ih v rest h.1]
-    simp only [length_append_sub, ↓reduceIte]
-o    rw [ih v rest h.1]
-    simp only [length_append_sub, ↓reduceIte]
-u    rw [ih v rest h.1]
-    simp only [length_append_sub, ↓reduceIte]
-n    rw [ih v rest h.1]
-    simp only [length_append_sub, ↓reduceIte]
-t    rw [ih v rest h.1]
-    simp only [length_append_sub, ↓reduceIte]
-]    rw [ih v rest h.1]
-    simp only [length_append_sub, ↓reduceIte]
-     rw [ih v rest h.1]
-    simp only [length_append_sub, ↓reduceIte]
-<    rw [ih v rest h.1]
-    simp only [length_append_sub, ↓reduceIte]
-;    rw [ih v rest h.1]
-    simp only [length_append_sub, ↓reduceIte]
->    rw [ih v rest h.1]
-    simp only [length_append_sub, ↓reduceIte]
-     rw [ih v rest h.1]
-    simp only [length_append_sub, ↓reduceIte]
-s    rw [ih v rest h.1]
-    simp only [length_append_sub, ↓reduceIte]
-i    rw [ih v rest h.1]
-    simp only [length_append_sub, ↓reduceIte]
-m    rw [ih v rest h.1]
-    simp only [length_append_sub, ↓reduceIte]
-p    rw [ih v rest h.1]
-    simp only [length_append_sub, ↓reduceIte]
-     rw [ih v rest h.1]
-    simp only [length_append_sub, ↓reduceIte]
-o    rw [ih v rest h.1]
-    simp only [length_append_sub, ↓reduceIte]
-n    rw [ih v rest h.1]
-    simp only [length_append_sub, ↓reduceIte]
-l    rw [ih v rest h.1]
-    simp only [length_append_sub, ↓reduceIte]
-y    rw [ih v rest h.1]
-    simp only [length_append_sub, ↓reduceIte]
-     rw [ih v rest h.1]
-    simp only [length_append_sub, ↓reduceIte]
-[    rw [ih v rest h.1]
-    simp only [length_append_sub, ↓reduceIte]
-c    rw [ih v rest h.1]
-    simp only [length_append_sub, ↓reduceIte]
-o    rw [ih v rest h.1]
-    simp only [length_append_sub, ↓reduceIte]
-u    rw [ih v rest h.1]
-    simp only [length_append_sub, ↓reduceIte]
-n    rw [ih v rest h.1]
-    simp only [length_append_sub, ↓reduceIte]
-t    rw [ih v rest h.1]
-    simp only [length_append_sub, ↓reduceIte]
-O    rw [ih v rest h.1]
-    simp only [length_append_sub, ↓reduceIte]
-K    rw [ih v rest h.1]
-    simp only [length_append_sub, ↓reduceIte]
-,    rw [ih v rest h.1]
-    simp only [length_append_sub, ↓reduceIte]
-     rw [ih v rest h.1]
-    simp only [length_append_sub, ↓reduceIte]
-d    rw [ih v rest h.1]
-    simp only [length_append_sub, ↓reduceIte]
-e    rw [ih v rest h.1]
-    simp only [length_append_sub, ↓reduceIte]
-c    rw [ih v rest h.1]
-    simp only [length_append_sub, ↓reduceIte]
-i    rw [ih v rest h.1]
-    simp only [length_append_sub, ↓reduceIte]
-d    rw [ih v rest h.1]
-    simp only [length_append_sub, ↓reduceIte]
-e    rw [ih v rest h.1]
-    simp only [length_append_sub, ↓reduceIte]
-_    rw [ih v rest h.1]
-    simp only [length_append_sub, ↓reduceIte]
-e    rw [ih v rest h.1]
-    simp only [length_append_sub, ↓reduceIte]
-q    rw [ih v rest h.1]
-    simp only [length_append_sub, ↓reduceIte]
-_    rw [ih v rest h.1]
-    simp only [length_append_sub, ↓reduceIte]
-t    rw [ih v rest h.1]
-    simp only [length_append_sub, ↓reduceIte]
-r    rw [ih v rest h.1]
-    simp only [length_append_sub, ↓reduceIte]
-u    rw [ih v rest h.1]
-    simp only [length_append_sub, ↓reduceIte]
-e    rw [ih v rest h.1]
-    simp only [length_append_sub, ↓reduceIte]
-_    rw [ih v rest h.1]
-    simp only [length_append_sub, ↓reduceIte]
-e    rw [ih v rest h.1]
-    simp only [length_append_sub, ↓reduceIte]
-q    rw [ih v rest h.1]
-    simp only [length_append_sub, ↓reduceIte]
-]    rw [ih v rest h.1]
-    simp only [length_append_sub, ↓reduceIte]
-     rw [ih v rest h.1]
-    simp only [length_append_sub, ↓reduceIte]
-a    rw [ih v rest h.1]
-    simp only [length_append_sub, ↓reduceIte]
-t    rw [ih v rest h.1]
-    simp only [length_append_sub, ↓reduceIte]
-     rw [ih v rest h.1]
-    simp only [length_append_sub, ↓reduceIte]
-h    rw [ih v rest h.1]
-    simp only [length_append_sub, ↓reduceIte]
-
-    rw [ih v rest h.1]
-    simp only [length_append_sub, ↓reduceIte]
-     rw [ih v rest h.1]
-    simp only [length_append_sub, ↓reduceIte]
-     rw [ih v rest h.1]
-    simp only [length_append_sub, ↓reduceIte]
-·    rw [ih v rest h.1]
-    simp only [length_append_sub, ↓reduceIte]
-     rw [ih v rest h.1]
-    simp only [length_append_sub, ↓reduceIte]
-r    rw [ih v rest h.1]
-    simp only [length_append_sub, ↓reduceIte]
-w    rw [ih v rest h.1]
-    simp only [length_append_sub, ↓reduceIte]
-     rw [ih v rest h.1]
-    simp only [length_append_sub, ↓reduceIte]
-[    rw [ih v rest h.1]
-    simp only [length_append_sub, ↓reduceIte]
-g    rw [ih v rest h.1]
-    simp only [length_append_sub, ↓reduceIte]
-e    rw [ih v rest h.1]
-    simp only [length_append_sub, ↓reduceIte]
-t    rw [ih v rest h.1]
-    simp only [length_append_sub, ↓reduceIte]
-A    rw [ih v rest h.1]
-    simp only [length_append_sub, ↓reduceIte]
-r    rw [ih v rest h.1]
-    simp only [length_append_sub, ↓reduceIte]
-r    rw [ih v rest h.1]
-    simp only [length_append_sub, ↓reduceIte]
-a    rw [ih v rest h.1]
-    simp only [length_append_sub, ↓reduceIte]
-y    rw [ih v rest h.1]
-    simp only [length_append_sub, ↓reduceIte]
-L    rw [ih v rest h.1]
-    simp only [length_append_sub, ↓reduceIte]
-e    rw [ih v rest h.1]
-    simp only [length_append_sub, ↓reduceIte]
-n    rw [ih v rest h.1]
-    simp only [length_append_sub, ↓reduceIte]
-g    rw [ih v rest h.1]
-    simp only [length_append_sub, ↓reduceIte]
-t    rw [ih v rest h.1]
-    simp only [length_append_sub, ↓reduceIte]
-h    rw [ih v rest h.1]
-    simp only [length_append_sub, ↓reduceIte]
-_    rw [ih v rest h.1]
-    simp only [length_append_sub, ↓reduceIte]
-p    rw [ih v rest h.1]
-    simp only [length_append_sub, ↓reduceIte]
-u    rw [ih v rest h.1]
-    simp only [length_append_sub, ↓reduceIte]
-t    rw [ih v rest h.1]
-    simp only [length_append_sub, ↓reduceIte]
-     rw [ih v rest h.1]
-    simp only [length_append_sub, ↓reduceIte]
-n    rw [ih v rest h.1]
-    simp only [length_append_sub, ↓reduceIte]
-     rw [ih v rest h.1]
-    simp only [length_append_sub, ↓reduceIte]
-_    rw [ih v rest h.1]
-    simp only [length_append_sub, ↓reduceIte]
-     rw [ih v rest h.1]
-    simp only [length_append_sub, ↓reduceIte]
-(    rw [ih v rest h.1]
-    simp only [length_append_sub, ↓reduceIte]
-i    rw [ih v rest h.1]
-    simp only [length_append_sub, ↓reduceIte]
-n    rw [ih v rest h.1]
-    simp only [length_append_sub, ↓reduceIte]
-I    rw [ih v rest h.1]
-    simp only [length_append_sub, ↓reduceIte]
-n    rw [ih v rest h.1]
-    simp only [length_append_sub, ↓reduceIte]
-t    rw [ih v rest h.1]
-    simp only [length_append_sub, ↓reduceIte]
-4    rw [ih v rest h.1]
-    simp only [length_append_sub, ↓reduceIte]
-_    rw [ih v rest h.1]
-    simp only [length_append_sub, ↓reduceIte]
-l    rw [ih v rest h.1]
-    simp only [length_append_sub, ↓reduceIte]
-e    rw [ih v rest h.1]
-    simp only [length_append_sub, ↓reduceIte]
-n    rw [ih v rest h.1]
-    simp only [length_append_sub, ↓reduceIte]
-     rw [ih v rest h.1]
-    simp only [length_append_sub, ↓reduceIte]
-n    rw [ih v rest h.1]
-    simp only [length_append_sub, ↓reduceIte]
-     rw [ih v rest h.1]
-    simp only [length_append_sub, ↓reduceIte]
-(    rw [ih v rest h.1]
-    simp only [length_append_sub, ↓reduceIte]
-b    rw [ih v rest h.1]
-    simp only [length_append_sub, ↓reduceIte]
-y    rw [ih v rest h.1]
-    simp only [length_append_sub, ↓reduceIte]
-     rw [ih v rest h.1]
-    simp only [length_append_sub, ↓reduceIte]
-s    rw [ih v rest h.1]
-    simp only [length_append_sub, ↓reduceIte]
-i    rw [ih v rest h.1]
-    simp only [length_append_sub, ↓reduceIte]
-m    rw [ih v rest h.1]
-    simp only [length_append_sub, ↓reduceIte]
-p    rw [ih v rest h.1]
-    simp only [length_append_sub, ↓reduceIte]
-     rw [ih v rest h.1]
-    simp only [length_append_sub, ↓reduceIte]
-o    rw [ih v rest h.1]
-    simp only [length_append_sub, ↓reduceIte]
-n    rw [ih v rest h.1]
-    simp only [length_append_sub, ↓reduceIte]
-l    rw [ih v rest h.1]
-    simp only [length_append_sub, ↓reduceIte]
-y    rw [ih v rest h.1]
-    simp only [length_append_sub, ↓reduceIte]
-     rw [ih v rest h.1]
-    simp only [length_append_sub, ↓reduceIte]
-[    rw [ih v rest h.1]
-    simp only [length_append_sub, ↓reduceIte]
-N    rw [ih v rest h.1]
-    simp only [length_append_sub, ↓reduceIte]
-a    rw [ih v rest h.1]
-    simp only [length_append_sub, ↓reduceIte]
-t    rw [ih v rest h.1]
-    simp only [length_append_sub, ↓reduceIte]
-.    rw [ih v rest h.1]
-    simp only [length_append_sub, ↓reduceIte]
-r    rw [ih v rest h.1]
-    simp only [length_append_sub, ↓reduceIte]
-e    rw [ih v rest h.1]
-    simp only [length_append_sub, ↓reduceIte]
-d    rw [ih v rest h.1]
-    simp only [length_append_sub, ↓reduceIte]
-u    rw [ih v rest h.1]
-    simp only [length_append_sub, ↓reduceIte]
-c    rw [ih v rest h.1]
-    simp only [length_append_sub, ↓reduceIte]
-e    rw [ih v rest h.1]
-    simp only [length_append_sub, ↓reduceIte]
-P    rw [ih v rest h.1]
-    simp only [length_append_sub, ↓reduceIte]
-o    rw [ih v rest h.1]
-    simp only [length_append_sub, ↓reduceIte]
-w    rw [ih v rest h.1]
-    simp only [length_append_sub, ↓reduceIte]
-]    rw [ih v rest h.1]
-    simp only [length_append_sub, ↓reduceIte]
-;    rw [ih v rest h.1]
-    simp only [length_append_sub, ↓reduceIte]
-     rw [ih v rest h.1]
-    simp only [length_append_sub, ↓reduceIte]
-o    rw [ih v rest h.1]
-    simp only [length_append_sub, ↓reduceIte]
-m    rw [ih v rest h.1]
-    simp only [length_append_sub, ↓reduceIte]
-e    rw [ih v rest h.1]
-    simp only [length_append_sub, ↓reduceIte]
-g    rw [ih v rest h.1]
-    simp only [length_append_sub, ↓reduceIte]
-a    rw [ih v rest h.1]
-    simp only [length_append_sub, ↓reduceIte]
-)    rw [ih v rest h.1]
-    simp only [length_append_sub, ↓reduceIte]
-)    rw [ih v rest h.1]
-    simp only [length_append_sub, ↓reduceIte]
-
-    rw [ih v rest h.1]
-    simp only [length_append_sub, ↓reduceIte]
-     rw [ih v rest h.1]
-    simp only [length_append_sub, ↓reduceIte]
-     rw [ih v rest h.1]
-    simp only [length_append_sub, ↓reduceIte]
-     rw [ih v rest h.1]
-    simp only [length_append_sub, ↓reduceIte]
-     rw [ih v rest h.1]
-    simp only [length_append_sub, ↓reduceIte]
-     rw [ih v rest h.1]
-    simp only [length_append_sub, ↓reduceIte]
-     rw [ih v rest h.1]
-    simp only [length_append_sub, ↓reduceIte]
-(    rw [ih v rest h.1]
-    simp only [length_append_sub, ↓reduceIte]
-b    rw [ih v rest h.1]
-    simp only [length_append_sub, ↓reduceIte]
-y    rw [ih v rest h.1]
-    simp only [length_append_sub, ↓reduceIte]
-     rw [ih v rest h.1]
-    simp only [length_append_sub, ↓reduceIte]
-s    rw [ih v rest h.1]
-    simp only [length_append_sub, ↓reduceIte]
-i    rw [ih v rest h.1]
-    simp only [length_append_sub, ↓reduceIte]
-m    rw [ih v rest h.1]
-    simp only [length_append_sub, ↓reduceIte]
-p    rw [ih v rest h.1]
-    simp only [length_append_sub, ↓reduceIte]
-     rw [ih v rest h.1]
-    simp only [length_append_sub, ↓reduceIte]
-o    rw [ih v rest h.1]
-    simp only [length_append_sub, ↓reduceIte]
-n    rw [ih v rest h.1]
-    simp only [length_append_sub, ↓reduceIte]
-l    rw [ih v rest h.1]
-    simp only [length_append_sub, ↓reduceIte]
-y    rw [ih v rest h.1]
-    simp only [length_append_sub, ↓reduceIte]
-     rw [ih v rest h.1]
-    simp only [length_append_sub, ↓reduceIte]
-[    rw [ih v rest h.1]
-    simp only [length_append_sub, ↓reduceIte]
-L    rw [ih v rest h.1]
-    simp only [length_append_sub, ↓reduceIte]
-i    rw [ih v rest h.1]
-    simp only [length_append_sub, ↓reduceIte]
-s    rw [ih v rest h.1]
-    simp only [length_append_sub, ↓reduceIte]
-t    rw [ih v rest h.1]
-    simp only [length_append_sub, ↓reduceIte]
-.    rw [ih v rest h.1]
-    simp only [length_append_sub, ↓reduceIte]
-l    rw [ih v rest h.1]
-    simp only [length_append_sub, ↓reduceIte]
-e    rw [ih v rest h.1]
-    simp only [length_append_sub, ↓reduceIte]
-n    rw [ih v rest h.1]
-    simp only [length_append_sub, ↓reduceIte]
-g    rw [ih v rest h.1]
-    simp only [length_append_sub, ↓reduceIte]
-t    rw [ih v rest h.1]
-    simp only [length_append_sub, ↓reduceIte]
-h    rw [ih v rest h.1]
-    simp only [length_append_sub, ↓reduceIte]
-_    rw [ih v rest h.1]
-    simp only [length_append_sub, ↓reduceIte]
-a    rw [ih v rest h.1]
-    simp only [length_append_sub, ↓reduceIte]
-p    rw [ih v rest h.1]
-    simp only [length_append_sub, ↓reduceIte]
-p    rw [ih v rest h.1]
-    simp only [length_append_sub, ↓reduceIte]
-e    rw [ih v rest h.1]
-    simp only [length_append_sub, ↓reduceIte]
-n    rw [ih v rest h.1]
-    simp only [length_append_sub, ↓reduceIte]
-d    rw [ih v rest h.1]
-    simp only [length_append_sub, ↓reduceIte]
-]    rw [ih v rest h.1]
-    simp only [length_append_sub, ↓reduceIte]
-;    rw [ih v rest h.1]
-    simp only [length_append_sub, ↓reduceIte]
-     rw [ih v rest h.1]
-    simp only [length_append_sub, ↓reduceIte]
-o    rw [ih v rest h.1]
-    simp only [length_append_sub, ↓reduceIte]
-m    rw [ih v rest h.1]
-    simp only [length_append_sub, ↓reduceIte]
-e    rw [ih v rest h.1]
-    simp only [length_append_sub, ↓reduceIte]
-g    rw [ih v rest h.1]
-    simp only [length_append_sub, ↓reduceIte]
-a    rw [ih v rest h.1]
-    simp only [length_append_sub, ↓reduceIte]
-)    rw [ih v rest h.1]
-    simp only [length_append_sub, ↓reduceIte]
-     rw [ih v rest h.1]
-    simp only [length_append_sub, ↓reduceIte]
-(    rw [ih v rest h.1]
-    simp only [length_append_sub, ↓reduceIte]
-b    rw [ih v rest h.1]
-    simp only [length_append_sub, ↓reduceIte]
-y    rw [ih v rest h.1]
-    simp only [length_append_sub, ↓reduceIte]
-     rw [ih v rest h.1]
-    simp only [length_append_sub, ↓reduceIte]
-o    rw [ih v rest h.1]
-    simp only [length_append_sub, ↓reduceIte]
-m    rw [ih v rest h.1]
-    simp only [length_append_sub, ↓reduceIte]
-e    rw [ih v rest h.1]
-    simp only [length_append_sub, ↓reduceIte]
-g    rw [ih v rest h.1]
-    simp only [length_append_sub, ↓reduceIte]
-a    rw [ih v rest h.1]
-    simp only [length_append_sub, ↓reduceIte]
-)    rw [ih v rest h.1]
-    simp only [length_append_sub, ↓reduceIte]
-     rw [ih v rest h.1]
-    simp only [length_append_sub, ↓reduceIte]
-(    rw [ih v rest h.1]
-    simp only [length_append_sub, ↓reduceIte]
-b    rw [ih v rest h.1]
-    simp only [length_append_sub, ↓reduceIte]
-y    rw [ih v rest h.1]
-    simp only [length_append_sub, ↓reduceIte]
-     rw [ih v rest h.1]
-    simp only [length_append_sub, ↓reduceIte]
-o    rw [ih v rest h.1]
-    simp only [length_append_sub, ↓reduceIte]
-m    rw [ih v rest h.1]
-    simp only [length_append_sub, ↓reduceIte]
-e    rw [ih v rest h.1]
-    simp only [length_append_sub, ↓reduceIte]
-g    rw [ih v rest h.1]
-    simp only [length_append_sub, ↓reduceIte]
-a    rw [ih v rest h.1]
-    simp only [length_append_sub, ↓reduceIte]
-)    rw [ih v rest h.1]
-    simp only [length_append_sub, ↓reduceIte]
-]    rw [ih v rest h.1]
-    simp only [length_append_sub, ↓reduceIte]
-
-    rw [ih v rest h.1]
-    simp only [length_append_sub, ↓reduceIte]
-     rw [ih v rest h.1]
-    simp only [length_append_sub, ↓reduceIte]
-     rw [ih v rest h.1]
-    simp only [length_append_sub, ↓reduceIte]
-     rw [ih v rest h.1]
-    simp only [length_append_sub, ↓reduceIte]
-     rw [ih v rest h.1]
-    simp only [length_append_sub, ↓reduceIte]
-s    rw [ih v rest h.1]
-    simp only [length_append_sub, ↓reduceIte]
-i    rw [ih v rest h.1]
-    simp only [length_append_sub, ↓reduceIte]
-m    rw [ih v rest h.1]
-    simp only [length_append_sub, ↓reduceIte]
-p    rw [ih v rest h.1]
-    simp only [length_append_sub, ↓reduceIte]
-     rw [ih v rest h.1]
-    simp only [length_append_sub, ↓reduceIte]
-o    rw [ih v rest h.1]
-    simp only [length_append_sub, ↓reduceIte]
-n    rw [ih v rest h.1]
-    simp only [length_append_sub, ↓reduceIte]
-l    rw [ih v rest h.1]
-    simp only [length_append_sub, ↓reduceIte]
-y    rw [ih v rest h.1]
-    simp only [length_append_sub, ↓reduceIte]
-     rw [ih v rest h.1]
-    simp only [length_append_sub, ↓reduceIte]
-[    rw [ih v rest h.1]
-    simp only [length_append_sub, ↓reduceIte]
-s    rw [ih v rest h.1]
-    simp only [length_append_sub, ↓reduceIte]
-h    rw [ih v rest h.1]
-    simp only [length_append_sub, ↓reduceIte]
-o    rw [ih v rest h.1]
-    simp only [length_append_sub, ↓reduceIte]
-w    rw [ih v rest h.1]
-    simp only [length_append_sub, ↓reduceIte]
-     rw [ih v rest h.1]
-    simp only [length_append_sub, ↓reduceIte]
-¬    rw [ih v rest h.1]
-    simp only [length_append_sub, ↓reduceIte]
-     rw [ih v rest h.1]
-    simp only [length_append_sub, ↓reduceIte]
-(    rw [ih v rest h.1]
-    simp only [length_append_sub, ↓reduceIte]
-(    rw [ih v rest h.1]
-    simp only [length_append_sub, ↓reduceIte]
-n    rw [ih v rest h.1]
-    simp only [length_append_sub, ↓reduceIte]
-     rw [ih v rest h.1]
-    simp only [length_append_sub, ↓reduceIte]
-:    rw [ih v rest h.1]
-    simp only [length_append_sub, ↓reduceIte]
-     rw [ih v rest h.1]
-    simp only [length_append_sub, ↓reduceIte]
-I    rw [ih v rest h.1]
-    simp only [length_append_sub, ↓reduceIte]
-n    rw [ih v rest h.1]
-    simp only [length_append_sub, ↓reduceIte]
-t    rw [ih v rest h.1]
-    simp only [length_append_sub, ↓reduceIte]
-)    rw [ih v rest h.1]
-    simp only [length_append_sub, ↓reduceIte]
-     rw [ih v rest h.1]
-    simp only [length_append_sub, ↓reduceIte]
-<    rw [ih v rest h.1]
-    simp only [length_append_sub, ↓reduceIte]
-     rw [ih v rest h.1]
-    simp only [length_append_sub, ↓reduceIte]
-0    rw [ih v rest h.1]
-    simp only [length_append_sub, ↓reduceIte]
-)    rw [ih v rest h.1]
-    simp only [length_append_sub, ↓reduceIte]
-     rw [ih v rest h.1]
-    simp only [length_append_sub, ↓reduceIte]
-b    rw [ih v rest h.1]
-    simp only [length_append_sub, ↓reduceIte]
-y    rw [ih v rest h.1]
-    simp only [length_append_sub, ↓reduceIte]
-     rw [ih v rest h.1]
-    simp only [length_append_sub, ↓reduceIte]
-o    rw [ih v rest h.1]
-    simp only [length_append_sub, ↓reduceIte]
-m    rw [ih v rest h.1]
-    simp only [length_append_sub, ↓reduceIte]
-e    rw [ih v rest h.1]
-    simp only [length_append_sub, ↓reduceIte]
-g    rw [ih v rest h.1]
-    simp only [length_append_sub, ↓reduceIte]
-a    rw [ih v rest h.1]
-    simp only [length_append_sub, ↓reduceIte]
-,    rw [ih v rest h.1]
-    simp only [length_append_sub, ↓reduceIte]
-     rw [ih v rest h.1]
-    simp only [length_append_sub, ↓reduceIte]
-↓    rw [ih v rest h.1]
-    simp only [length_append_sub, ↓reduceIte]
-r    rw [ih v rest h.1]
-    simp only [length_append_sub, ↓reduceIte]
-e    rw [ih v rest h.1]
-    simp only [length_append_sub, ↓reduceIte]
-d    rw [ih v rest h.1]
-    simp only [length_append_sub, ↓reduceIte]
-u    rw [ih v rest h.1]
-    simp only [length_append_sub, ↓reduceIte]
-c    rw [ih v rest h.1]
-    simp only [length_append_sub, ↓reduceIte]
-e    rw [ih v rest h.1]
-    simp only [length_append_sub, ↓reduceIte]
-I    rw [ih v rest h.1]
-    simp only [length_append_sub, ↓reduceIte]
-t    rw [ih v rest h.1]
-    simp only [length_append_sub, ↓reduceIte]
-e    rw [ih v rest h.1]
-    simp only [length_append_sub, ↓reduceIte]
-,    rw [ih v rest h.1]
-    simp only [length_append_sub, ↓reduceIte]
-     rw [ih v rest h.1]
-    simp only [length_append_sub, ↓reduceIte]
-I    rw [ih v rest h.1]
-    simp only [length_append_sub, ↓reduceIte]
-n    rw [ih v rest h.1]
-    simp only [length_append_sub, ↓reduceIte]
-t    rw [ih v rest h.1]
-    simp only [length_append_sub, ↓reduceIte]
-.    rw [ih v rest h.1]
-    simp only [length_append_sub, ↓reduceIte]
-t    rw [ih v rest h.1]
-    simp only [length_append_sub, ↓reduceIte]
-o    rw [ih v rest h.1]
-    simp only [length_append_sub, ↓reduceIte]
-N    rw [ih v rest h.1]
-    simp only [length_append_sub, ↓reduceIte]
-a    rw [ih v rest h.1]
-    simp only [length_append_sub, ↓reduceIte]
-t    rw [ih v rest h.1]
-    simp only [length_append_sub, ↓reduceIte]
-_    rw [ih v rest h.1]
-    simp only [length_append_sub, ↓reduceIte]
-n    rw [ih v rest h.1]
-    simp only [length_append_sub, ↓reduceIte]
-a    rw [ih v rest h.1]
-    simp only [length_append_sub, ↓reduceIte]
-t    rw [ih v rest h.1]
-    simp only [length_append_sub, ↓reduceIte]
-C    rw [ih v rest h.1]
-    simp only [length_append_sub, ↓reduceIte]
-a    rw [ih v rest h.1]
-    simp only [length_append_sub, ↓reduceIte]
-s    rw [ih v rest h.1]
-    simp only [length_append_sub, ↓reduceIte]
-t    rw [ih v rest h.1]
-    simp only [length_append_sub, ↓reduceIte]
-]    rw [ih v rest h.1]
-    simp only [length_append_sub, ↓reduceIte]
-
-    rw [ih v rest h.1]
-    simp only [length_append_sub, ↓reduceIte]
-     rw [ih v rest h.1]
-    simp only [length_append_sub, ↓reduceIte]
-     rw [ih v rest h.1]
-    simp only [length_append_sub, ↓reduceIte]
-·    rw [ih v rest h.1]
-    simp only [length_append_sub, ↓reduceIte]
-     rw [ih v rest h.1]
-    simp only [length_append_sub, ↓reduceIte]
-r    rw [ih v rest h.1]
-    simp only [length_append_sub, ↓reduceIte]
-w    rw [ih v rest h.1]
-    simp only [length_append_sub, ↓reduceIte]
-     rw [ih v rest h.1]
-    simp only [length_append_sub, ↓reduceIte]
-[    rw [ih v rest h.1]
-    simp only [length_append_sub, ↓reduceIte]
-g    rw [ih v rest h.1]
-    simp only [length_append_sub, ↓reduceIte]
-e    rw [ih v rest h.1]
-    simp only [length_append_sub, ↓reduceIte]
-t    rw [ih v rest h.1]
-    simp only [length_append_sub, ↓reduceIte]
-A    rw [ih v rest h.1]
-    simp only [length_append_sub, ↓reduceIte]
-r    rw [ih v rest h.1]
-    simp only [length_append_sub, ↓reduceIte]
-r    rw [ih v rest h.1]
-    simp only [length_append_sub, ↓reduceIte]
-a    rw [ih v rest h.1]
-    simp only [length_append_sub, ↓reduceIte]
-y    rw [ih v rest h.1]
-    simp only [length_append_sub, ↓reduceIte]
-L    rw [ih v rest h.1]
-    simp only [length_append_sub, ↓reduceIte]
-e    rw [ih v rest h.1]
-    simp only [length_append_sub, ↓reduceIte]
-n    rw [ih v rest h.1]
-    simp only [length_append_sub, ↓reduceIte]
-g    rw [ih v rest h.1]
-    simp only [length_append_sub, ↓reduceIte]
-t    rw [ih v rest h.1]
-    simp only [length_append_sub, ↓reduceIte]
-h    rw [ih v rest h.1]
-    simp only [length_append_sub, ↓reduceIte]
-_    rw [ih v rest h.1]
-    simp only [length_append_sub, ↓reduceIte]
-p    rw [ih v rest h.1]
-    simp only [length_append_sub, ↓reduceIte]
-u    rw [ih v rest h.1]
-    simp only [length_append_sub, ↓reduceIte]
-t    rw [ih v rest h.1]
-    simp only [length_append_sub, ↓reduceIte]
-     rw [ih v rest h.1]
-    simp only [length_append_sub, ↓reduceIte]
-n    rw [ih v rest h.1]
-    simp only [length_append_sub, ↓reduceIte]
-     rw [ih v rest h.1]
-    simp only [length_append_sub, ↓reduceIte]
-_    rw [ih v rest h.1]
-    simp only [length_append_sub, ↓reduceIte]
-     rw [ih v rest h.1]
-    simp only [length_append_sub, ↓reduceIte]
-(    rw [ih v rest h.1]
-    simp only [length_append_sub, ↓reduceIte]
-i    rw [ih v rest h.1]
-    simp only [length_append_sub, ↓reduceIte]
-n    rw [ih v rest h.1]
-    simp only [length_append_sub, ↓reduceIte]
-I    rw [ih v rest h.1]
-    simp only [length_append_sub, ↓reduceIte]
-n    rw [ih v rest h.1]
-    simp only [length_append_sub, ↓reduceIte]
-t    rw [ih v rest h.1]
-    simp only [length_append_sub, ↓reduceIte]
-4    rw [ih v rest h.1]
-    simp only [length_append_sub, ↓reduceIte]
-_    rw [ih v rest h.1]
-    simp only [length_append_sub, ↓reduceIte]
-l    rw [ih v rest h.1]
-    simp only [length_append_sub, ↓reduceIte]
-e    rw [ih v rest h.1]
-    simp only [length_append_sub, ↓reduceIte]
-n    rw [ih v rest h.1]
-    simp only [length_append_sub, ↓reduceIte]
-     rw [ih v rest h.1]
-    simp only [length_append_sub, ↓reduceIte]
-n    rw [ih v rest h.1]
-    simp only [length_append_sub, ↓reduceIte]
-     rw [ih v rest h.1]
-    simp only [length_append_sub, ↓reduceIte]
-(    rw [ih v rest h.1]
-    simp only [length_append_sub, ↓reduceIte]
-b    rw [ih v rest h.1]
-    simp only [length_append_sub, ↓reduceIte]
-y    rw [ih v rest h.1]
-    simp only [length_append_sub, ↓reduceIte]
-     rw [ih v rest h.1]
-    simp only [length_append_sub, ↓reduceIte]
-s    rw [ih v rest h.1]
-    simp only [length_append_sub, ↓reduceIte]
-i    rw [ih v rest h.1]
-    simp only [length_append_sub, ↓reduceIte]
-m    rw [ih v rest h.1]
-    simp only [length_append_sub, ↓reduceIte]
-p    rw [ih v rest h.1]
-    simp only [length_append_sub, ↓reduceIte]
-     rw [ih v rest h.1]
-    simp only [length_append_sub, ↓reduceIte]
-o    rw [ih v rest h.1]
-    simp only [length_append_sub, ↓reduceIte]
-n    rw [ih v rest h.1]
-    simp only [length_append_sub, ↓reduceIte]
-l    rw [ih v rest h.1]
-    simp only [length_append_sub, ↓reduceIte]
-y    rw [ih v rest h.1]
-    simp only [length_append_sub, ↓reduceIte]
-     rw [ih v rest h.1]
-    simp only [length_append_sub, ↓reduceIte]
-[    rw [ih v rest h.1]
-    simp only [length_append_sub, ↓reduceIte]
-N    rw [ih v rest h.1]
-    simp only [length_append_sub, ↓reduceIte]
-a    rw [ih v rest h.1]
-    simp only [length_append_sub, ↓reduceIte]
-t    rw [ih v rest h.1]
-    simp only [length_append_sub, ↓reduceIte]
-.    rw [ih v rest h.1]
-    simp only [length_append_sub, ↓reduceIte]
-r    rw [ih v rest h.1]
-    simp only [length_append_sub, ↓reduceIte]
-e    rw [ih v rest h.1]
-    simp only [length_append_sub, ↓reduceIte]
-d    rw [ih v rest h.1]
-    simp only [length_append_sub, ↓reduceIte]
-u    rw [ih v rest h.1]
-    simp only [length_append_sub, ↓reduceIte]
-c    rw [ih v rest h.1]
-    simp only [length_append_sub, ↓reduceIte]
-e    rw [ih v rest h.1]
-    simp only [length_append_sub, ↓reduceIte]
-P    rw [ih v rest h.1]
-    simp only [length_append_sub, ↓reduceIte]
-o    rw [ih v rest h.1]
-    simp only [length_append_sub, ↓reduceIte]
-w    rw [ih v rest h.1]
-    simp only [length_append_sub, ↓reduceIte]
-]    rw [ih v rest h.1]
-    simp only [length_append_sub, ↓reduceIte]
-;    rw [ih v rest h.1]
-    simp only [length_append_sub, ↓reduceIte]
-     rw [ih v rest h.1]
-    simp only [length_append_sub, ↓reduceIte]
-o    rw [ih v rest h.1]
-    simp only [length_append_sub, ↓reduceIte]
-m    rw [ih v rest h.1]
-    simp only [length_append_sub, ↓reduceIte]
-e    rw [ih v rest h.1]
-    simp only [length_append_sub, ↓reduceIte]
-g    rw [ih v rest h.1]
-    simp only [length_append_sub, ↓reduceIte]
-a    rw [ih v rest h.1]
-    simp only [length_append_sub, ↓reduceIte]
-)    rw [ih v rest h.1]
-    simp only [length_append_sub, ↓reduceIte]
-)    rw [ih v rest h.1]
-    simp only [length_append_sub, ↓reduceIte]
-
-    rw [ih v rest h.1]
-    simp only [length_append_sub, ↓reduceIte]
-     rw [ih v rest h.1]
-    simp only [length_append_sub, ↓reduceIte]
-     rw [ih v rest h.1]
-    simp only [length_append_sub, ↓reduceIte]
-     rw [ih v rest h.1]
-    simp only [length_append_sub, ↓reduceIte]
-     rw [ih v rest h.1]
-    simp only [length_append_sub, ↓reduceIte]
-     rw [ih v rest h.1]
-    simp only [length_append_sub, ↓reduceIte]
-     rw [ih v rest h.1]
-    simp only [length_append_sub, ↓reduceIte]
-(    rw [ih v rest h.1]
-    simp only [length_append_sub, ↓reduceIte]
-b    rw [ih v rest h.1]
-    simp only [length_append_sub, ↓reduceIte]
-y    rw [ih v rest h.1]
-    simp only [length_append_sub, ↓reduceIte]
-     rw [ih v rest h.1]
-    simp only [length_append_sub, ↓reduceIte]
-s    rw [ih v rest h.1]
-    simp only [length_append_sub, ↓reduceIte]
-i    rw [ih v rest h.1]
-    simp only [length_append_sub, ↓reduceIte]
-m    rw [ih v rest h.1]
-    simp only [length_append_sub, ↓reduceIte]
-p    rw [ih v rest h.1]
-    simp only [length_append_sub, ↓reduceIte]
-     rw [ih v rest h.1]
-    simp only [length_append_sub, ↓reduceIte]
-o    rw [ih v rest h.1]
-    simp only [length_append_sub, ↓reduceIte]
-n    rw [ih v rest h.1]
-    simp only [length_append_sub, ↓reduceIte]
-l    rw [ih v rest h.1]
-    simp only [length_append_sub, ↓reduceIte]
-y    rw [ih v rest h.1]
-    simp only [length_append_sub, ↓reduceIte]
-     rw [ih v rest h.1]
-    simp only [length_append_sub, ↓reduceIte]
-[    rw [ih v rest h.1]
-    simp only [length_append_sub, ↓reduceIte]
-L    rw [ih v rest h.1]
-    simp only [length_append_sub, ↓reduceIte]
-i    rw [ih v rest h.1]
-    simp only [length_append_sub, ↓reduceIte]
-s    rw [ih v rest h.1]
-    simp only [length_append_sub, ↓reduceIte]
-t    rw [ih v rest h.1]
-    simp only [length_append_sub, ↓reduceIte]
-.    rw [ih v rest h.1]
-    simp only [length_append_sub, ↓reduceIte]
-l    rw [ih v rest h.1]
-    simp only [length_append_sub, ↓reduceIte]
-e    rw [ih v rest h.1]
-    simp only [length_append_sub, ↓reduceIte]
-n    rw [ih v rest h.1]
-    simp only [length_append_sub, ↓reduceIte]
-g    rw [ih v rest h.1]
-    simp only [length_append_sub, ↓reduceIte]
-t    rw [ih v rest h.1]
-    simp only [length_append_sub, ↓reduceIte]
-h    rw [ih v rest h.1]
-    simp only [length_append_sub, ↓reduceIte]
-_    rw [ih v rest h.1]
-    simp only [length_append_sub, ↓reduceIte]
-a    rw [ih v rest h.1]
-    simp only [length_append_sub, ↓reduceIte]
-p    rw [ih v rest h.1]
-    simp only [length_append_sub, ↓reduceIte]
-p    rw [ih v rest h.1]
-    simp only [length_append_sub, ↓reduceIte]
-e    rw [ih v rest h.1]
-    simp only [length_append_sub, ↓reduceIte]
-n    rw [ih v rest h.1]
-    simp only [length_append_sub, ↓reduceIte]
-d    rw [ih v rest h.1]
-    simp only [length_append_sub, ↓reduceIte]
-]    rw [ih v rest h.1]
-    simp only [length_append_sub, ↓reduceIte]
-;    rw [ih v rest h.1]
-    simp only [length_append_sub, ↓reduceIte]
-     rw [ih v rest h.1]
-    simp only [length_append_sub, ↓reduceIte]
-o    rw [ih v rest h.1]
-    simp only [length_append_sub, ↓reduceIte]
-m    rw [ih v rest h.1]
-    simp only [length_append_sub, ↓reduceIte]
-e    rw [ih v rest h.1]
-    simp only [length_append_sub, ↓reduceIte]
-g    rw [ih v rest h.1]
-    simp only [length_append_sub, ↓reduceIte]
-a    rw [ih v rest h.1]
-    simp only [length_append_sub, ↓reduceIte]
-)    rw [ih v rest h.1]
-    simp only [length_append_sub, ↓reduceIte]
-     rw [ih v rest h.1]
-    simp only [length_append_sub, ↓reduceIte]
-(    rw [ih v rest h.1]
-    simp only [length_append_sub, ↓reduceIte]
-b    rw [ih v rest h.1]
-    simp only [length_append_sub, ↓reduceIte]
-y    rw [ih v rest h.1]
-    simp only [length_append_sub, ↓reduceIte]
-     rw [ih v rest h.1]
-    simp only [length_append_sub, ↓reduceIte]
-o    rw [ih v rest h.1]
-    simp only [length_append_sub, ↓reduceIte]
-m    rw [ih v rest h.1]
-    simp only [length_append_sub, ↓reduceIte]
-e    rw [ih v rest h.1]
-    simp only [length_append_sub, ↓reduceIte]
-g    rw [ih v rest h.1]
-    simp only [length_append_sub, ↓reduceIte]
-a    rw [ih v rest h.1]
-    simp only [length_append_sub, ↓reduceIte]
-)    rw [ih v rest h.1]
-    simp only [length_append_sub, ↓reduceIte]
-     rw [ih v rest h.1]
-    simp only [length_append_sub, ↓reduceIte]
-(    rw [ih v rest h.1]
-    simp only [length_append_sub, ↓reduceIte]
-b    rw [ih v rest h.1]
-    simp only [length_append_sub, ↓reduceIte]
-y    rw [ih v rest h.1]
-    simp only [length_append_sub, ↓reduceIte]
-     rw [ih v rest h.1]
-    simp only [length_append_sub, ↓reduceIte]
-o    rw [ih v rest h.1]
-    simp only [length_append_sub, ↓reduceIte]
-m    rw [ih v rest h.1]
-    simp only [length_append_sub, ↓reduceIte]
-e    rw [ih v rest h.1]
-    simp only [length_append_sub, ↓reduceIte]
-g    rw [ih v rest h.1]
-    simp only [length_append_sub, ↓reduceIte]
-a    rw [ih v rest h.1]
-    simp only [length_append_sub, ↓reduceIte]
-)    rw [ih v rest h.1]
-    simp only [length_append_sub, ↓reduceIte]
-]    rw [ih v rest h.1]
-    simp only [length_append_sub, ↓reduceIte]
-
-    rw [ih v rest h.1]
-    simp only [length_append_sub, ↓reduceIte]
-     rw [ih v rest h.1]
-    simp only [length_append_sub, ↓reduceIte]
-     rw [ih v rest h.1]
-    simp only [length_append_sub, ↓reduceIte]
-     rw [ih v rest h.1]
-    simp only [length_append_sub, ↓reduceIte]
-     rw [ih v rest h.1]
-    simp only [length_append_sub, ↓reduceIte]
-s    rw [ih v rest h.1]
-    simp only [length_append_sub, ↓reduceIte]
-i    rw [ih v rest h.1]
-    simp only [length_append_sub, ↓reduceIte]
-m    rw [ih v rest h.1]
-    simp only [length_append_sub, ↓reduceIte]
-p    rw [ih v rest h.1]
-    simp only [length_append_sub, ↓reduceIte]
-     rw [ih v rest h.1]
-    simp only [length_append_sub, ↓reduceIte]
-o    rw [ih v rest h.1]
-    simp only [length_append_sub, ↓reduceIte]
-n    rw [ih v rest h.1]
-    simp only [length_append_sub, ↓reduceIte]
-l    rw [ih v rest h.1]
-    simp only [length_append_sub, ↓reduceIte]
-y    rw [ih v rest h.1]
-    simp only [length_append_sub, ↓reduceIte]
-     rw [ih v rest h.1]
-    simp only [length_append_sub, ↓reduceIte]
-[    rw [ih v rest h.1]
-    simp only [length_append_sub, ↓reduceIte]
-s    rw [ih v rest h.1]
-    simp only [length_append_sub, ↓reduceIte]
-h    rw [ih v rest h.1]
-    simp only [length_append_sub, ↓reduceIte]
-o    rw [ih v rest h.1]
-    simp only [length_append_sub, ↓reduceIte]
-w    rw [ih v rest h.1]
-    simp only [length_append_sub, ↓reduceIte]
-     rw [ih v rest h.1]
-    simp only [length_append_sub, ↓reduceIte]
-¬    rw [ih v rest h.1]
-    simp only [length_append_sub, ↓reduceIte]
-     rw [ih v rest h.1]
-    simp only [length_append_sub, ↓reduceIte]
-(    rw [ih v rest h.1]
-    simp only [length_append_sub, ↓reduceIte]
-(    rw [ih v rest h.1]
-    simp only [length_append_sub, ↓reduceIte]
-n    rw [ih v rest h.1]
-    simp only [length_append_sub, ↓reduceIte]
-     rw [ih v rest h.1]
-    simp only [length_append_sub, ↓reduceIte]
-:    rw [ih v rest h.1]
-    simp only [length_append_sub, ↓reduceIte]
-     rw [ih v rest h.1]
-    simp only [length_append_sub, ↓reduceIte]
-I    rw [ih v rest h.1]
-    simp only [length_append_sub, ↓reduceIte]
-n    rw [ih v rest h.1]
-    simp only [length_append_sub, ↓reduceIte]
-t    rw [ih v rest h.1]
-    simp only [length_append_sub, ↓reduceIte]
-)    rw [ih v rest h.1]
-    simp only [length_append_sub, ↓reduceIte]
-     rw [ih v rest h.1]
-    simp only [length_append_sub, ↓reduceIte]
-<    rw [ih v rest h.1]
-    simp only [length_append_sub, ↓reduceIte]
-     rw [ih v rest h.1]
-    simp only [length_append_sub, ↓reduceIte]
-0    rw [ih v rest h.1]
-    simp only [length_append_sub, ↓reduceIte]
-)    rw [ih v rest h.1]
-    simp only [length_append_sub, ↓reduceIte]
-     rw [ih v rest h.1]
-    simp only [length_append_sub, ↓reduceIte]
-b    rw [ih v rest h.1]
-    simp only [length_append_sub, ↓reduceIte]
-y    rw [ih v rest h.1]
-    simp only [length_append_sub, ↓reduceIte]
-     rw [ih v rest h.1]
-    simp only [length_append_sub, ↓reduceIte]
-o    rw [ih v rest h.1]
-    simp only [length_append_sub, ↓reduceIte]
-m    rw [ih v rest h.1]
-    simp only [length_append_sub, ↓reduceIte]
-e    rw [ih v rest h.1]
-    simp only [length_append_sub, ↓reduceIte]
-g    rw [ih v rest h.1]
-    simp only [length_append_sub, ↓reduceIte]
-a    rw [ih v rest h.1]
-    simp only [length_append_sub, ↓reduceIte]
-,    rw [ih v rest h.1]
-    simp only [length_append_sub, ↓reduceIte]
-     rw [ih v rest h.1]
-    simp only [length_append_sub, ↓reduceIte]
-s    rw [ih v rest h.1]
-    simp only [length_append_sub, ↓reduceIte]
-h    rw [ih v rest h.1]
-    simp only [length_append_sub, ↓reduceIte]
-o    rw [ih v rest h.1]
-    simp only [length_append_sub, ↓reduceIte]
-w    rw [ih v rest h.1]
-    simp only [length_append_sub, ↓reduceIte]
-     rw [ih v rest h.1]
-    simp only [length_append_sub, ↓reduceIte]
-¬    rw [ih v rest h.1]
-    simp only [length_append_sub, ↓reduceIte]
-     rw [ih v rest h.1]
-    simp only [length_append_sub, ↓reduceIte]
-(    rw [ih v rest h.1]
-    simp only [length_append_sub, ↓reduceIte]
-(    rw [ih v rest h.1]
-    simp only [length_append_sub, ↓reduceIte]
-n    rw [ih v rest h.1]
-    simp only [length_append_sub, ↓reduceIte]
-     rw [ih v rest h.1]
-    simp only [length_append_sub, ↓reduceIte]
-:    rw [ih v rest h.1]
-    simp only [length_append_sub, ↓reduceIte]
-     rw [ih v rest h.1]
-    simp only [length_append_sub, ↓reduceIte]
-I    rw [ih v rest h.1]
-    simp only [length_append_sub, ↓reduceIte]
-n    rw [ih v rest h.1]
-    simp only [length_append_sub, ↓reduceIte]
-t    rw [ih v rest h.1]
-    simp only [length_append_sub, ↓reduceIte]
-)    rw [ih v rest h.1]
-    simp only [length_append_sub, ↓reduceIte]
-     rw [ih v rest h.1]
-    simp only [length_append_sub, ↓reduceIte]
-=    rw [ih v rest h.1]
-    simp only [length_append_sub, ↓reduceIte]
-     rw [ih v rest h.1]
-    simp only [length_append_sub, ↓reduceIte]
--    rw [ih v rest h.1]
-    simp only [length_append_sub, ↓reduceIte]
-1    rw [ih v rest h.1]
-    simp only [length_append_sub, ↓reduceIte]
-)    rw [ih v rest h.1]
-    simp only [length_append_sub, ↓reduceIte]
-     rw [ih v rest h.1]
-    simp only [length_append_sub, ↓reduceIte]
-b    rw [ih v rest h.1]
-    simp only [length_append_sub, ↓reduceIte]
-y    rw [ih v rest h.1]
-    simp only [length_append_sub, ↓reduceIte]
-     rw [ih v rest h.1]
-    simp only [length_append_sub, ↓reduceIte]
-o    rw [ih v rest h.1]
-    simp only [length_append_sub, ↓reduceIte]
-m    rw [ih v rest h.1]
-    simp only [length_append_sub, ↓reduceIte]
-e    rw [ih v rest h.1]
-    simp only [length_append_sub, ↓reduceIte]
-g    rw [ih v rest h.1]
-    simp only [length_append_sub, ↓reduceIte]
-a    rw [ih v rest h.1]
-    simp only [length_append_sub, ↓reduceIte]
-,    rw [ih v rest h.1]
-    simp only [length_append_sub, ↓reduceIte]
-     rw [ih v rest h.1]
-    simp only [length_append_sub, ↓reduceIte]
-↓    rw [ih v rest h.1]
-    simp only [length_append_sub, ↓reduceIte]
-r    rw [ih v rest h.1]
-    simp only [length_append_sub, ↓reduceIte]
-e    rw [ih v rest h.1]
-    simp only [length_append_sub, ↓reduceIte]
-d    rw [ih v rest h.1]
-    simp only [length_append_sub, ↓reduceIte]
-u    rw [ih v rest h.1]
-    simp only [length_append_sub, ↓reduceIte]
-c    rw [ih v rest h.1]
-    simp only [length_append_sub, ↓reduceIte]
-e    rw [ih v rest h.1]
-    simp only [length_append_sub, ↓reduceIte]
-I    rw [ih v rest h.1]
-    simp only [length_append_sub, ↓reduceIte]
-t    rw [ih v rest h.1]
-    simp only [length_append_sub, ↓reduceIte]
-e    rw [ih v rest h.1]
-    simp only [length_append_sub, ↓reduceIte]
-,    rw [ih v rest h.1]
-    simp only [length_append_sub, ↓reduceIte]
-     rw [ih v rest h.1]
-    simp only [length_append_sub, ↓reduceIte]
-I    rw [ih v rest h.1]
-    simp only [length_append_sub, ↓reduceIte]
-n    rw [ih v rest h.1]
-    simp only [length_append_sub, ↓reduceIte]
-t    rw [ih v rest h.1]
-    simp only [length_append_sub, ↓reduceIte]
-.    rw [ih v rest h.1]
-    simp only [length_append_sub, ↓reduceIte]
-t    rw [ih v rest h.1]
-    simp only [length_append_sub, ↓reduceIte]
-o    rw [ih v rest h.1]
-    simp only [length_append_sub, ↓reduceIte]
-N    rw [ih v rest h.1]
-    simp only [length_append_sub, ↓reduceIte]
-a    rw [ih v rest h.1]
-    simp only [length_append_sub, ↓reduceIte]
-t    rw [ih v rest h.1]
-    simp only [length_append_sub, ↓reduceIte]
-_    rw [ih v rest h.1]
-    simp only [length_append_sub, ↓reduceIte]
-n    rw [ih v rest h.1]
-    simp only [length_append_sub, ↓reduceIte]
-a    rw [ih v rest h.1]
-    simp only [length_append_sub, ↓reduceIte]
-t    rw [ih v rest h.1]
-    simp only [length_append_sub, ↓reduceIte]
-C    rw [ih v rest h.1]
-    simp only [length_append_sub, ↓reduceIte]
-a    rw [ih v rest h.1]
-    simp only [length_append_sub, ↓reduceIte]
-s    rw [ih v rest h.1]
-    simp only [length_append_sub, ↓reduceIte]
-t    rw [ih v rest h.1]
-    simp only [length_append_sub, ↓reduceIte]
-]    rw [ih v rest h.1]
-    simp only [length_append_sub, ↓reduceIte]
-
-    rw [ih v rest h.1]
-    simp only [length_append_sub, ↓reduceIte]
-     rw [ih v rest h.1]
-    simp only [length_append_sub, ↓reduceIte]
-     rw [ih v rest h.1]
-    simp only [length_append_sub, ↓reduceIte]
-·    rw [ih v rest h.1]
-    simp only [length_append_sub, ↓reduceIte]
-     rw [ih v rest h.1]
-    simp only [length_append_sub, ↓reduceIte]
-r    rw [ih v rest h.1]
-    simp only [length_append_sub, ↓reduceIte]
-w    rw [ih v rest h.1]
-    simp only [length_append_sub, ↓reduceIte]
-     rw [ih v rest h.1]
-    simp only [length_append_sub, ↓reduceIte]
-[    rw [ih v rest h.1]
-    simp only [length_append_sub, ↓reduceIte]
-g    rw [ih v rest h.1]
-    simp only [length_append_sub, ↓reduceIte]
-e    rw [ih v rest h.1]
-    simp only [length_append_sub, ↓reduceIte]
-t    rw [ih v rest h.1]
-    simp only [length_append_sub, ↓reduceIte]
-C    rw [ih v rest h.1]
-    simp only [length_append_sub, ↓reduceIte]
-o    rw [ih v rest h.1]
-    simp only [length_append_sub, ↓reduceIte]
-m    rw [ih v rest h.1]
-    simp only [length_append_sub, ↓reduceIte]
-p    rw [ih v rest h.1]
-    simp only [length_append_sub, ↓reduceIte]
-a    rw [ih v rest h.1]
-    simp only [length_append_sub, ↓reduceIte]
-c    rw [ih v rest h.1]
-    simp only [length_append_sub, ↓reduceIte]
-t    rw [ih v rest h.1]
-    simp only [length_append_sub, ↓reduceIte]
-A    rw [ih v rest h.1]
-    simp only [length_append_sub, ↓reduceIte]
-r    rw [ih v rest h.1]
-    simp only [length_append_sub, ↓reduceIte]
-r    rw [ih v rest h.1]
-    simp only [length_append_sub, ↓reduceIte]
-a    rw [ih v rest h.1]
-    simp only [length_append_sub, ↓reduceIte]
-y    rw [ih v rest h.1]
-    simp only [length_append_sub, ↓reduceIte]
-L    rw [ih v rest h.1]
-    simp only [length_append_sub, ↓reduceIte]
-e    rw [ih v rest h.1]
-    simp only [length_append_sub, ↓reduceIte]
-n    rw [ih v rest h.1]
-    simp only [length_append_sub, ↓reduceIte]
-g    rw [ih v rest h.1]
-    simp only [length_append_sub, ↓reduceIte]
-t    rw [ih v rest h.1]
-    simp only [length_append_sub, ↓reduceIte]
-h    rw [ih v rest h.1]
-    simp only [length_append_sub, ↓reduceIte]
-_    rw [ih v rest h.1]
-    simp only [length_append_sub, ↓reduceIte]
-p    rw [ih v rest h.1]
-    simp only [length_append_sub, ↓reduceIte]
-u    rw [ih v rest h.1]
-    simp only [length_append_sub, ↓reduceIte]
-t    rw [ih v rest h.1]
-    simp only [length_append_sub, ↓reduceIte]
-     rw [ih v rest h.1]
-    simp only [length_append_sub, ↓reduceIte]
-n    rw [ih v rest h.1]
-    simp only [length_append_sub, ↓reduceIte]
-     rw [ih v rest h.1]
-    simp only [length_append_sub, ↓reduceIte]
-_    rw [ih v rest h.1]
-    simp only [length_append_sub, ↓reduceIte]
-     rw [ih v rest h.1]
-    simp only [length_append_sub, ↓reduceIte]
-h    rw [ih v rest h.1]
-    simp only [length_append_sub, ↓reduceIte]
-.    rw [ih v rest h.1]
-    simp only [length_append_sub, ↓reduceIte]
-1    rw [ih v rest h.1]
-    simp only [length_append_sub, ↓reduceIte]
-     rw [ih v rest h.1]
-    simp only [length_append_sub, ↓reduceIte]
-(    rw [ih v rest h.1]
-    simp only [length_append_sub, ↓reduceIte]
-b    rw [ih v rest h.1]
-    simp only [length_append_sub, ↓reduceIte]
-y    rw [ih v rest h.1]
-    simp only [length_append_sub, ↓reduceIte]
-     rw [ih v rest h.1]
-    simp only [length_append_sub, ↓reduceIte]
-s    rw [ih v rest h.1]
-    simp only [length_append_sub, ↓reduceIte]
-i    rw [ih v rest h.1]
-    simp only [length_append_sub, ↓reduceIte]
-m    rw [ih v rest h.1]
-    simp only [length_append_sub, ↓reduceIte]
-p    rw [ih v rest h.1]
-    simp only [length_append_sub, ↓reduceIte]
-     rw [ih v rest h.1]
-    simp only [length_append_sub, ↓reduceIte]
-o    rw [ih v rest h.1]
-    simp only [length_append_sub, ↓reduceIte]
-n    rw [ih v rest h.1]
-    simp only [length_append_sub, ↓reduceIte]
-l    rw [ih v rest h.1]
-    simp only [length_append_sub, ↓reduceIte]
-y    rw [ih v rest h.1]
-    simp only [length_append_sub, ↓reduceIte]
-     rw [ih v rest h.1]
-    simp only [length_append_sub, ↓reduceIte]
-[    rw [ih v rest h.1]
-    simp only [length_append_sub, ↓reduceIte]
-L    rw [ih v rest h.1]
-    simp only [length_append_sub, ↓reduceIte]
-i    rw [ih v rest h.1]
-    simp only [length_append_sub, ↓reduceIte]
-s    rw [ih v rest h.1]
-    simp only [length_append_sub, ↓reduceIte]
-t    rw [ih v rest h.1]
-    simp only [length_append_sub, ↓reduceIte]
-.    rw [ih v rest h.1]
-    simp only [length_append_sub, ↓reduceIte]
-l    rw [ih v rest h.1]
-    simp only [length_append_sub, ↓reduceIte]
-e    rw [ih v rest h.1]
-    simp only [length_append_sub, ↓reduceIte]
-n    rw [ih v rest h.1]
-    simp only [length_append_sub, ↓reduceIte]
-g    rw [ih v rest h.1]
-    simp only [length_append_sub, ↓reduceIte]
-t    rw [ih v rest h.1]
-    simp only [length_append_sub, ↓reduceIte]
-h    rw [ih v rest h.1]
-    simp only [length_append_sub, ↓reduceIte]
-_    rw [ih v rest h.1]
-    simp only [length_append_sub, ↓reduceIte]
-a    rw [ih v rest h.1]
-    simp only [length_append_sub, ↓reduceIte]
-p    rw [ih v rest h.1]
-    simp only [length_append_sub, ↓reduceIte]
-p    rw [ih v rest h.1]
-    simp only [length_append_sub, ↓reduceIte]
-e    rw [ih v rest h.1]
-    simp only [length_append_sub, ↓reduceIte]
-n    rw [ih v rest h.1]
-    simp only [length_append_sub, ↓reduceIte]
-d    rw [ih v rest h.1]
-    simp only [length_append_sub, ↓reduceIte]
-]    rw [ih v rest h.1]
-    simp only [length_append_sub, ↓reduceIte]
-;    rw [ih v rest h.1]
-    simp only [length_append_sub, ↓reduceIte]
-     rw [ih v rest h.1]
-    simp only [length_append_sub, ↓reduceIte]
-o    rw [ih v rest h.1]
-    simp only [length_append_sub, ↓reduceIte]
-m    rw [ih v rest h.1]
-    simp only [length_append_sub, ↓reduceIte]
-e    rw [ih v rest h.1]
-    simp only [length_append_sub, ↓reduceIte]
-g    rw [ih v rest h.1]
-    simp only [length_append_sub, ↓reduceIte]
-a    rw [ih v rest h.1]
-    simp only [length_append_sub, ↓reduceIte]
-)    rw [ih v rest h.1]
-    simp only [length_append_sub, ↓reduceIte]
-]    rw [ih v rest h.1]
-    simp only [length_append_sub, ↓reduceIte]
-
-    rw [ih v rest h.1]
-    simp only [length_append_sub, ↓reduceIte]
-     rw [ih v rest h.1]
-    simp only [length_append_sub, ↓reduceIte]
-     rw [ih v rest h.1]
-    simp only [length_append_sub, ↓reduceIte]
-·    rw [ih v rest h.1]
-    simp only [length_append_sub, ↓reduceIte]
-     rw [ih v rest h.1]
-    simp only [length_append_sub, ↓reduceIte]
-r    rw [ih v rest h.1]
-    simp only [length_append_sub, ↓reduceIte]
-w    rw [ih v rest h.1]
-    simp only [length_append_sub, ↓reduceIte]
-     rw [ih v rest h.1]
-    simp only [length_append_sub, ↓reduceIte]
-[    rw [ih v rest h.1]
-    simp only [length_append_sub, ↓reduceIte]
-g    rw [ih v rest h.1]
-    simp only [length_append_sub, ↓reduceIte]
-e    rw [ih v rest h.1]
-    simp only [length_append_sub, ↓reduceIte]
-t    rw [ih v rest h.1]
-    simp only [length_append_sub, ↓reduceIte]
-V    rw [ih v rest h.1]
-    simp only [length_append_sub, ↓reduceIte]
-a    rw [ih v rest h.1]
-    simp only [length_append_sub, ↓reduceIte]
-r    rw [ih v rest h.1]
-    simp only [length_append_sub, ↓reduceIte]
-i    rw [ih v rest h.1]
-    simp only [length_append_sub, ↓reduceIte]
-n    rw [ih v rest h.1]
-    simp only [length_append_sub, ↓reduceIte]
-t    rw [ih v rest h.1]
-    simp only [length_append_sub, ↓reduceIte]
-_    rw [ih v rest h.1]
-    simp only [length_append_sub, ↓reduceIte]
-p    rw [ih v rest h.1]
-    simp only [length_append_sub, ↓reduceIte]
-u    rw [ih v rest h.1]
-    simp only [length_append_sub, ↓reduceIte]
-t    rw [ih v rest h.1]
-    simp only [length_append_sub, ↓reduceIte]
-V    rw [ih v rest h.1]
-    simp only [length_append_sub, ↓reduceIte]
-a    rw [ih v rest h.1]
-    simp only [length_append_sub, ↓reduceIte]
-r    rw [ih v rest h.1]
-    simp only [length_append_sub, ↓reduceIte]
-i    rw [ih v rest h.1]
-    simp only [length_append_sub, ↓reduceIte]
-n    rw [ih v rest h.1]
-    simp only [length_append_sub, ↓reduceIte]
-t    rw [ih v rest h.1]
-    simp only [length_append_sub, ↓reduceIte]
-     rw [ih v rest h.1]
-    simp only [length_append_sub, ↓reduceIte]
-n    rw [ih v rest h.1]
-    simp only [length_append_sub, ↓reduceIte]
-     rw [ih v rest h.1]
-    simp only [length_append_sub, ↓reduceIte]
-_    rw [ih v rest h.1]
-    simp only [length_append_sub, ↓reduceIte]
-     rw [ih v rest h.1]
-    simp only [length_append_sub, ↓reduceIte]
-(    rw [ih v rest h.1]
-    simp only [length_append_sub, ↓reduceIte]
-i    rw [ih v rest h.1]
-    simp only [length_append_sub, ↓reduceIte]
-n    rw [ih v rest h.1]
-    simp only [length_append_sub, ↓reduceIte]
-I    rw [ih v rest h.1]
-    simp only [length_append_sub, ↓reduceIte]
-n    rw [ih v rest h.1]
-    simp only [length_append_sub, ↓reduceIte]
-t    rw [ih v rest h.1]
-    simp only [length_append_sub, ↓reduceIte]
-8    rw [ih v rest h.1]
-    simp only [length_append_sub, ↓reduceIte]
-_    rw [ih v rest h.1]
-    simp only [length_append_sub, ↓reduceIte]
-l    rw [ih v rest h.1]
-    simp only [length_append_sub, ↓reduceIte]
-e    rw [ih v rest h.1]
-    simp only [length_append_sub, ↓reduceIte]
-n    rw [ih v rest h.1]
-    simp only [length_append_sub, ↓reduceIte]
-     rw [ih v rest h.1]
-    simp only [length_append_sub, ↓reduceIte]
-n    rw [ih v rest h.1]
-    simp only [length_append_sub, ↓reduceIte]
-     rw [ih v rest h.1]
-    simp only [length_append_sub, ↓reduceIte]
-h    rw [ih v rest h.1]
-    simp only [length_append_sub, ↓reduceIte]
-.    rw [ih v rest h.1]
-    simp only [length_append_sub, ↓reduceIte]
-1    rw [ih v rest h.1]
-    simp only [length_append_sub, ↓reduceIte]
-)    rw [ih v rest h.1]
-    simp only [length_append_sub, ↓reduceIte]
-]    rw [ih v rest h.1]
-    simp only [length_append_sub, ↓reduceIte]
-
-    rw [ih v rest h.1]
-    simp only [length_append_sub, ↓reduceIte]
-     rw [ih v rest h.1]
-    simp only [length_append_sub, ↓reduceIte]
-     rw [ih v rest h.1]
-    simp only [length_append_sub, ↓reduceIte]
-     rw [ih v rest h.1]
-    simp only [length_append_sub, ↓reduceIte]
-     rw [ih v rest h.1]
-    simp only [length_append_sub, ↓reduceIte]
-s    rw [ih v rest h.1]
-    simp only [length_append_sub, ↓reduceIte]
-i    rw [ih v rest h.1]
-    simp only [length_append_sub, ↓reduceIte]
-m    rw [ih v rest h.1]
-    simp only [length_append_sub, ↓reduceIte]
-p    rw [ih v rest h.1]
-    simp only [length_append_sub, ↓reduceIte]
-     rw [ih v rest h.1]
-    simp only [length_append_sub, ↓reduceIte]
-o    rw [ih v rest h.1]
-    simp only [length_append_sub, ↓reduceIte]
-n    rw [ih v rest h.1]
-    simp only [length_append_sub, ↓reduceIte]
-l    rw [ih v rest h.1]
-    simp only [length_append_sub, ↓reduceIte]
-y    rw [ih v rest h.1]
-    simp only [length_append_sub, ↓reduceIte]
-     rw [ih v rest h.1]
-    simp only [length_append_sub, ↓reduceIte]
-[    rw [ih v rest h.1]
-    simp only [length_append_sub, ↓reduceIte]
-L    rw [ih v rest h.1]
-    simp only [length_append_sub, ↓reduceIte]
-i    rw [ih v rest h.1]
-    simp only [length_append_sub, ↓reduceIte]
-s    rw [ih v rest h.1]
-    simp only [length_append_sub, ↓reduceIte]
-t    rw [ih v rest h.1]
-    simp only [length_append_sub, ↓reduceIte]
-.    rw [ih v rest h.1]
-    simp only [length_append_sub, ↓reduceIte]
-l    rw [ih v rest h.1]
-    simp only [length_append_sub, ↓reduceIte]
-e    rw [ih v rest h.1]
-    simp only [length_append_sub, ↓reduceIte]
-n    rw [ih v rest h.1]
-    simp only [length_append_sub, ↓reduceIte]
-g    rw [ih v rest h.1]
-    simp only [length_append_sub, ↓reduceIte]
-t    rw [ih v rest h.1]
-    simp only [length_append_sub, ↓reduceIte]
-h    rw [ih v rest h.1]
-    simp only [length_append_sub, ↓reduceIte]
-_    rw [ih v rest h.1]
-    simp only [length_append_sub, ↓reduceIte]
-a    rw [ih v rest h.1]
-    simp only [length_append_sub, ↓reduceIte]
-p    rw [ih v rest h.1]
-    simp only [length_append_sub, ↓reduceIte]
-p    rw [ih v rest h.1]
-    simp only [length_append_sub, ↓reduceIte]
-e    rw [ih v rest h.1]
-    simp only [length_append_sub, ↓reduceIte]
-n    rw [ih v rest h.1]
-    simp only [length_append_sub, ↓reduceIte]
-d    rw [ih v rest h.1]
-    simp only [length_append_sub, ↓reduceIte]
-,    rw [ih v rest h.1]
-    simp only [length_append_sub, ↓reduceIte]
-     rw [ih v rest h.1]
-    simp only [length_append_sub, ↓reduceIte]
-s    rw [ih v rest h.1]
-    simp only [length_append_sub, ↓reduceIte]
-h    rw [ih v rest h.1]
-    simp only [length_append_sub, ↓reduceIte]
-o    rw [ih v rest h.1]
-    simp only [length_append_sub, ↓reduceIte]
-w    rw [ih v rest h.1]
-    simp only [length_append_sub, ↓reduceIte]
-     rw [ih v rest h.1]
-    simp only [length_append_sub, ↓reduceIte]
-¬    rw [ih v rest h.1]
-    simp only [length_append_sub, ↓reduceIte]
-     rw [ih v rest h.1]
-    simp only [length_append_sub, ↓reduceIte]
-(    rw [ih v rest h.1]
-    simp only [length_append_sub, ↓reduceIte]
-(    rw [ih v rest h.1]
-    simp only [length_append_sub, ↓reduceIte]
-n    rw [ih v rest h.1]
-    simp only [length_append_sub, ↓reduceIte]
-     rw [ih v rest h.1]
-    simp only [length_append_sub, ↓reduceIte]
-:    rw [ih v rest h.1]
-    simp only [length_append_sub, ↓reduceIte]
-     rw [ih v rest h.1]
-    simp only [length_append_sub, ↓reduceIte]
-I    rw [ih v rest h.1]
-    simp only [length_append_sub, ↓reduceIte]
-n    rw [ih v rest h.1]
-    simp only [length_append_sub, ↓reduceIte]
-t    rw [ih v rest h.1]
-    simp only [length_append_sub, ↓reduceIte]
-)    rw [ih v rest h.1]
-    simp only [length_append_sub, ↓reduceIte]
-     rw [ih v rest h.1]
-    simp only [length_append_sub, ↓reduceIte]
->    rw [ih v rest h.1]
-    simp only [length_append_sub, ↓reduceIte]
-     rw [ih v rest h.1]
-    simp only [length_append_sub, ↓reduceIte]
-(    rw [ih v rest h.1]
-    simp only [length_append_sub, ↓reduceIte]
-(    rw [ih v rest h.1]
-    simp only [length_append_sub, ↓reduceIte]
-b    rw [ih v rest h.1]
-    simp only [length_append_sub, ↓reduceIte]
-o    rw [ih v rest h.1]
-    simp only [length_append_sub, ↓reduceIte]
-d    rw [ih v rest h.1]
-    simp only [length_append_sub, ↓reduceIte]
-y    rw [ih v rest h.1]
-    simp only [length_append_sub, ↓reduceIte]
-.    rw [ih v rest h.1]
-    simp only [length_append_sub, ↓reduceIte]
-l    rw [ih v rest h.1]
-    simp only [length_append_sub, ↓reduceIte]
-e    rw [ih v rest h.1]
-    simp only [length_append_sub, ↓reduceIte]
-n    rw [ih v rest h.1]
-    simp only [length_append_sub, ↓reduceIte]
-g    rw [ih v rest h.1]
-    simp only [length_append_sub, ↓reduceIte]
-t    rw [ih v rest h.1]
-    simp only [length_append_sub, ↓reduceIte]
-h    rw [ih v rest h.1]
-    simp only [length_append_sub, ↓reduceIte]
-     rw [ih v rest h.1]
-    simp only [length_append_sub, ↓reduceIte]
-+    rw [ih v rest h.1]
-    simp only [length_append_sub, ↓reduceIte]
-     rw [ih v rest h.1]
-    simp only [length_append_sub, ↓reduceIte]
-r    rw [ih v rest h.1]
-    simp only [length_append_sub, ↓reduceIte]
-e    rw [ih v rest h.1]
-    simp only [length_append_sub, ↓reduceIte]
-s    rw [ih v rest h.1]
-    simp only [length_append_sub, ↓reduceIte]
-t    rw [ih v rest h.1]
-    simp only [length_append_sub, ↓reduceIte]
-.    rw [ih v rest h.1]
-    simp only [length_append_sub, ↓reduceIte]
-l    rw [ih v rest h.1]
-    simp only [length_append_sub, ↓reduceIte]
-e    rw [ih v rest h.1]
-    simp only [length_append_sub, ↓reduceIte]
-n    rw [ih v rest h.1]
-    simp only [length_append_sub, ↓reduceIte]
-g    rw [ih v rest h.1]
-    simp only [length_append_sub, ↓reduceIte]
-t    rw [ih v rest h.1]
-    simp only [length_append_sub, ↓reduceIte]
-h    rw [ih v rest h.1]
-    simp only [length_append_sub, ↓reduceIte]
-     rw [ih v rest h.1]
-    simp only [length_append_sub, ↓reduceIte]
-:    rw [ih v rest h.1]
-    simp only [length_append_sub, ↓reduceIte]
-     rw [ih v rest h.1]
-    simp only [length_append_sub, ↓reduceIte]
-N    rw [ih v rest h.1]
-    simp only [length_append_sub, ↓reduceIte]
-a    rw [ih v rest h.1]
-    simp only [length_append_sub, ↓reduceIte]
-t    rw [ih v rest h.1]
-    simp only [length_append_sub, ↓reduceIte]
-)    rw [ih v rest h.1]
-    simp only [length_append_sub, ↓reduceIte]
-     rw [ih v rest h.1]
-    simp only [length_append_sub, ↓reduceIte]
-:    rw [ih v rest h.1]
-    simp only [length_append_sub, ↓reduceIte]
-     rw [ih v rest h.1]
-    simp only [length_append_sub, ↓reduceIte]
-I    rw [ih v rest h.1]
-    simp only [length_append_sub, ↓reduceIte]
-n    rw [ih v rest h.1]
-    simp only [length_append_sub, ↓reduceIte]
-t    rw [ih v rest h.1]
-    simp only [length_append_sub, ↓reduceIte]
-)    rw [ih v rest h.1]
-    simp only [length_append_sub, ↓reduceIte]
-)    rw [ih v rest h.1]
-    simp only [length_append_sub, ↓reduceIte]
-     rw [ih v rest h.1]
-    simp only [length_append_sub, ↓reduceIte]
-b    rw [ih v rest h.1]
-    simp only [length_append_sub, ↓reduceIte]
-y    rw [ih v rest h.1]
-    simp only [length_append_sub, ↓reduceIte]
-     rw [ih v rest h.1]
-    simp only [length_append_sub, ↓reduceIte]
-o    rw [ih v rest h.1]
-    simp only [length_append_sub, ↓reduceIte]
-m    rw [ih v rest h.1]
-    simp only [length_append_sub, ↓reduceIte]
-e    rw [ih v rest h.1]
-    simp only [length_append_sub, ↓reduceIte]
-g    rw [ih v rest h.1]
-    simp only [length_append_sub, ↓reduceIte]
-a    rw [ih v rest h.1]
-    simp only [length_append_sub, ↓reduceIte]
-,    rw [ih v rest h.1]
-    simp only [length_append_sub, ↓reduceIte]
-     rw [ih v rest h.1]
-    simp only [length_append_sub, ↓reduceIte]
-↓    rw [ih v rest h.1]
-    simp only [length_append_sub, ↓reduceIte]
-r    rw [ih v rest h.1]
-    simp only [length_append_sub, ↓reduceIte]
-e    rw [ih v rest h.1]
-    simp only [length_append_sub, ↓reduceIte]
-d    rw [ih v rest h.1]
-    simp only [length_append_sub, ↓reduceIte]
-u    rw [ih v rest h.1]
-    simp only [length_append_sub, ↓reduceIte]
-c    rw [ih v rest h.1]
-    simp only [length_append_sub, ↓reduceIte]
-e    rw [ih v rest h.1]
-    simp only [length_append_sub, ↓reduceIte]
-I    rw [ih v rest h.1]
-    simp only [length_append_sub, ↓reduceIte]
-t    rw [ih v rest h.1]
-    simp only [length_append_sub, ↓reduceIte]
-e    rw [ih v rest h.1]
-    simp only [length_append_sub, ↓reduceIte]
-,    rw [ih v rest h.1]
-    simp only [length_append_sub, ↓reduceIte]
-
-    rw [ih v rest h.1]
-    simp only [length_append_sub, ↓reduceIte]
-     rw [ih v rest h.1]
-    simp only [length_append_sub, ↓reduceIte]
-     rw [ih v rest h.1]
-    simp only [length_append_sub, ↓reduceIte]
-     rw [ih v rest h.1]
-    simp only [length_append_sub, ↓reduceIte]
-     rw [ih v rest h.1]
-    simp only [length_append_sub, ↓reduceIte]
-     rw [ih v rest h.1]
-    simp only [length_append_sub, ↓reduceIte]
-     rw [ih v rest h.1]
-    simp only [length_append_sub, ↓reduceIte]
-I    rw [ih v rest h.1]
-    simp only [length_append_sub, ↓reduceIte]
-n    rw [ih v rest h.1]
-    simp only [length_append_sub, ↓reduceIte]
-t    rw [ih v rest h.1]
-    simp only [length_append_sub, ↓reduceIte]
-.    rw [ih v rest h.1]
-    simp only [length_append_sub, ↓reduceIte]
-t    rw [ih v rest h.1]
-    simp only [length_append_sub, ↓reduceIte]
-o    rw [ih v rest h.1]
-    simp only [length_append_sub, ↓reduceIte]
-N    rw [ih v rest h.1]
-    simp only [length_append_sub, ↓reduceIte]
-a    rw [ih v rest h.1]
-    simp only [length_append_sub, ↓reduceIte]
-t    rw [ih v rest h.1]
-    simp only [length_append_sub, ↓reduceIte]
-_    rw [ih v rest h.1]
-    simp only [length_append_sub, ↓reduceIte]
-n    rw [ih v rest h.1]
-    simp only [length_append_sub, ↓reduceIte]
-a    rw [ih v rest h.1]
-    simp only [length_append_sub, ↓reduceIte]
-t    rw [ih v rest h.1]
-    simp only [length_append_sub, ↓reduceIte]
-C    rw [ih v rest h.1]
-    simp only [length_append_sub, ↓reduceIte]
-a    rw [ih v rest h.1]
-    simp only [length_append_sub, ↓reduceIte]
-s    rw [ih v rest h.1]
-    simp only [length_append_sub, ↓reduceIte]
-t    rw [ih v rest h.1]
-    simp only [length_append_sub, ↓reduceIte]
-]    rw [ih v rest h.1]
-    simp only [length_append_sub, ↓reduceIte]
-
-    rw [ih v rest h.1]
-    simp only [length_append_sub, ↓reduceIte]
-
-    rw [ih v rest h.1]
-    simp only [length_append_sub, ↓reduceIte]
-t    rw [ih v rest h.1]
-    simp only [length_append_sub, ↓reduceIte]
-h    rw [ih v rest h.1]
-    simp only [length_append_sub, ↓reduceIte]
-e    rw [ih v rest h.1]
-    simp only [length_append_sub, ↓reduceIte]
-o    rw [ih v rest h.1]
-    simp only [length_append_sub, ↓reduceIte]
-r    rw [ih v rest h.1]
-    simp only [length_append_sub, ↓reduceIte]
-e    rw [ih v rest h.1]
-    simp only [length_append_sub, ↓reduceIte]
-m    rw [ih v rest h.1]
-    simp only [length_append_sub, ↓reduceIte]
-     rw [ih v rest h.1]
-    simp only [length_append_sub, ↓reduceIte]
-g    rw [ih v rest h.1]
-    simp only [length_append_sub, ↓reduceIte]
-e    rw [ih v rest h.1]
-    simp only [length_append_sub, ↓reduceIte]
-t    rw [ih v rest h.1]
-    simp only [length_append_sub, ↓reduceIte]
-C    rw [ih v rest h.1]
-    simp only [length_append_sub, ↓reduceIte]
-o    rw [ih v rest h.1]
-    simp only [length_append_sub, ↓reduceIte]
-u    rw [ih v rest h.1]
-    simp only [length_append_sub, ↓reduceIte]
-n    rw [ih v rest h.1]
-    simp only [length_append_sub, ↓reduceIte]
-t    rw [ih v rest h.1]
-    simp only [length_append_sub, ↓reduceIte]
-_    rw [ih v rest h.1]
-    simp only [length_append_sub, ↓reduceIte]
-p    rw [ih v rest h.1]
-    simp only [length_append_sub, ↓reduceIte]
-u    rw [ih v rest h.1]
-    simp only [length_append_sub, ↓reduceIte]
-t    rw [ih v rest h.1]
-    simp only [length_append_sub, ↓reduceIte]
-C    rw [ih v rest h.1]
-    simp only [length_append_sub, ↓reduceIte]
-o    rw [ih v rest h.1]
-    simp only [length_append_sub, ↓reduceIte]
-u    rw [ih v rest h.1]
-    simp only [length_append_sub, ↓reduceIte]
-n    rw [ih v rest h.1]
-    simp only [length_append_sub, ↓reduceIte]
-t    rw [ih v rest h.1]
-    simp only [length_append_sub, ↓reduceIte]
-_    rw [ih v rest h.1]
-    simp only [length_append_sub, ↓reduceIte]
-n    rw [ih v rest h.1]
-    simp only [length_append_sub, ↓reduceIte]
-u    rw [ih v rest h.1]
-    simp only [length_append_sub, ↓reduceIte]
-l    rw [ih v rest h.1]
-    simp only [length_append_sub, ↓reduceIte]
-l    rw [ih v rest h.1]
-    simp only [length_append_sub, ↓reduceIte]
-     rw [ih v rest h.1]
-    simp only [length_append_sub, ↓reduceIte]
-(    rw [ih v rest h.1]
-    simp only [length_append_sub, ↓reduceIte]
-r    rw [ih v rest h.1]
-    simp only [length_append_sub, ↓reduceIte]
-e    rw [ih v rest h.1]
-    simp only [length_append_sub, ↓reduceIte]
-s    rw [ih v rest h.1]
-    simp only [length_append_sub, ↓reduceIte]
-t    rw [ih v rest h.1]
-    simp only [length_append_sub, ↓reduceIte]
-     rw [ih v rest h.1]
-    simp only [length_append_sub, ↓reduceIte]
-:    rw [ih v rest h.1]
-    simp only [length_append_sub, ↓reduceIte]
-     rw [ih v rest h.1]
-    simp only [length_append_sub, ↓reduceIte]
-B    rw [ih v rest h.1]
-    simp only [length_append_sub, ↓reduceIte]
-y    rw [ih v rest h.1]
-    simp only [length_append_sub, ↓reduceIte]
-t    rw [ih v rest h.1]
-    simp only [length_append_sub, ↓reduceIte]
-e    rw [ih v rest h.1]
-    simp only [length_append_sub, ↓reduceIte]
-s    rw [ih v rest h.1]
-    simp only [length_append_sub, ↓reduceIte]
-)    rw [ih v rest h.1]
-    simp only [length_append_sub, ↓reduceIte]
-     rw [ih v rest h.1]
-    simp only [length_append_sub, ↓reduceIte]
-:    rw [ih v rest h.1]
-    simp only [length_append_sub, ↓reduceIte]
-
-    rw [ih v rest h.1]
-    simp only [length_append_sub, ↓reduceIte]
-     rw [ih v rest h.1]
-    simp only [length_append_sub, ↓reduceIte]
-     rw [ih v rest h.1]
-    simp only [length_append_sub, ↓reduceIte]
-     rw [ih v rest h.1]
-    simp only [length_append_sub, ↓reduceIte]
-     rw [ih v rest h.1]
-    simp only [length_append_sub, ↓reduceIte]
-g    rw [ih v rest h.1]
-    simp only [length_append_sub, ↓reduceIte]
-e    rw [ih v rest h.1]
-    simp only [length_append_sub, ↓reduceIte]
-t    rw [ih v rest h.1]
-    simp only [length_append_sub, ↓reduceIte]
-C    rw [ih v rest h.1]
-    simp only [length_append_sub, ↓reduceIte]
-o    rw [ih v rest h.1]
-    simp only [length_append_sub, ↓reduceIte]
-u    rw [ih v rest h.1]
-    simp only [length_append_sub, ↓reduceIte]
-n    rw [ih v rest h.1]
-    simp only [length_append_sub, ↓reduceIte]
-t    rw [ih v rest h.1]
-    simp only [length_append_sub, ↓reduceIte]
-     rw [ih v rest h.1]
-    simp only [length_append_sub, ↓reduceIte]
-.    rw [ih v rest h.1]
-    simp only [length_append_sub, ↓reduceIte]
-i    rw [ih v rest h.1]
-    simp only [length_append_sub, ↓reduceIte]
-3    rw [ih v rest h.1]
-    simp only [length_append_sub, ↓reduceIte]
-2    rw [ih v rest h.1]
-    simp only [length_append_sub, ↓reduceIte]
-n    rw [ih v rest h.1]
-    simp only [length_append_sub, ↓reduceIte]
-u    rw [ih v rest h.1]
-    simp only [length_append_sub, ↓reduceIte]
-l    rw [ih v rest h.1]
-    simp only [length_append_sub, ↓reduceIte]
-l    rw [ih v rest h.1]
-    simp only [length_append_sub, ↓reduceIte]
-     rw [ih v rest h.1]
-    simp only [length_append_sub, ↓reduceIte]
-(    rw [ih v rest h.1]
-    simp only [length_append_sub, ↓reduceIte]
-p    rw [ih v rest h.1]
-    simp only [length_append_sub, ↓reduceIte]
-u    rw [ih v rest h.1]
-    simp only [length_append_sub, ↓reduceIte]
-t    rw [ih v rest h.1]
-    simp only [length_append_sub, ↓reduceIte]
-C    rw [ih v rest h.1]
-    simp only [length_append_sub, ↓reduceIte]
-o    rw [ih v rest h.1]
-    simp only [length_append_sub, ↓reduceIte]
-u    rw [ih v rest h.1]
-    simp only [length_append_sub, ↓reduceIte]
-n    rw [ih v rest h.1]
-    simp only [length_append_sub, ↓reduceIte]
-t    rw [ih v rest h.1]
-    simp only [length_append_sub, ↓reduceIte]
-     rw [ih v rest h.1]
-    simp only [length_append_sub, ↓reduceIte]
-.    rw [ih v rest h.1]
-    simp only [length_append_sub, ↓reduceIte]
-i    rw [ih v rest h.1]
-    simp only [length_append_sub, ↓reduceIte]
-3    rw [ih v rest h.1]
-    simp only [length_append_sub, ↓reduceIte]
-2    rw [ih v rest h.1]
-    simp only [length_append_sub, ↓reduceIte]
-n    rw [ih v rest h.1]
-    simp only [length_append_sub, ↓reduceIte]
-u    rw [ih v rest h.1]
-    simp only [length_append_sub, ↓reduceIte]
-l    rw [ih v rest h.1]
-    simp only [length_append_sub, ↓reduceIte]
-l    rw [ih v rest h.1]
-    simp only [length_append_sub, ↓reduceIte]
-     rw [ih v rest h.1]
-    simp only [length_append_sub, ↓reduceIte]
-n    rw [ih v rest h.1]
-    simp only [length_append_sub, ↓reduceIte]
-o    rw [ih v rest h.1]
-    simp only [length_append_sub, ↓reduceIte]
-n    rw [ih v rest h.1]
-    simp only [length_append_sub, ↓reduceIte]
-e    rw [ih v rest h.1]
-    simp only [length_append_sub, ↓reduceIte]
-     rw [ih v rest h.1]
-    simp only [length_append_sub, ↓reduceIte]
-+    rw [ih v rest h.1]
-    simp only [length_append_sub, ↓reduceIte]
-+    rw [ih v rest h.1]
-    simp only [length_append_sub, ↓reduceIte]
-     rw [ih v rest h.1]
-    simp only [length_append_sub, ↓reduceIte]
-r    rw [ih v rest h.1]
-    simp only [length_append_sub, ↓reduceIte]
-e    rw [ih v rest h.1]
-    simp only [length_append_sub, ↓reduceIte]
-s    rw [ih v rest h.1]
-    simp only [length_append_sub, ↓reduceIte]
-t    rw [ih v rest h.1]
-    simp only [length_append_sub, ↓reduceIte]
-)    rw [ih v rest h.1]
-    simp only [length_append_sub, ↓reduceIte]
-     rw [ih v rest h.1]
-    simp only [length_append_sub, ↓reduceIte]
-=    rw [ih v rest h.1]
-    simp only [length_append_sub, ↓reduceIte]
-     rw [ih v rest h.1]
-    simp only [length_append_sub, ↓reduceIte]
-s    rw [ih v rest h.1]
-    simp only [length_append_sub, ↓reduceIte]
-o    rw [ih v rest h.1]
-    simp only [length_append_sub, ↓reduceIte]
-m    rw [ih v rest h.1]
-    simp only [length_append_sub, ↓reduceIte]
-e    rw [ih v rest h.1]
-    simp only [length_append_sub, ↓reduceIte]
-     rw [ih v rest h.1]
-    simp only [length_append_sub, ↓reduceIte]
-(    rw [ih v rest h.1]
-    simp only [length_append_sub, ↓reduceIte]
-n    rw [ih v rest h.1]
-    simp only [length_append_sub, ↓reduceIte]
-o    rw [ih v rest h.1]
-    simp only [length_append_sub, ↓reduceIte]
-n    rw [ih v rest h.1]
-    simp only [length_append_sub, ↓reduceIte]
-e    rw [ih v rest h.1]
-    simp only [length_append_sub, ↓reduceIte]
-,    rw [ih v rest h.1]
-    simp only [length_append_sub, ↓reduceIte]
-     rw [ih v rest h.1]
-    simp only [length_append_sub, ↓reduceIte]
-r    rw [ih v rest h.1]
-    simp only [length_append_sub, ↓reduceIte]
-e    rw [ih v rest h.1]
-    simp only [length_append_sub, ↓reduceIte]
-s    rw [ih v rest h.1]
-    simp only [length_append_sub, ↓reduceIte]
-t    rw [ih v rest h.1]
-    simp only [length_append_sub, ↓reduceIte]
-)    rw [ih v rest h.1]
-    simp only [length_append_sub, ↓reduceIte]
-     rw [ih v rest h.1]
-    simp only [length_append_sub, ↓reduceIte]
-:    rw [ih v rest h.1]
-    simp only [length_append_sub, ↓reduceIte]
-=    rw [ih v rest h.1]
-    simp only [length_append_sub, ↓reduceIte]
-     rw [ih v rest h.1]
-    simp only [length_append_sub, ↓reduceIte]
-b    rw [ih v rest h.1]
-    simp only [length_append_sub, ↓reduceIte]
-y    rw [ih v rest h.1]
-    simp only [length_append_sub, ↓reduceIte]
-
-    rw [ih v rest h.1]
-    simp only [length_append_sub, ↓reduceIte]
-     rw [ih v rest h.1]
-    simp only [length_append_sub, ↓reduceIte]
-     rw [ih v rest h.1]
-    simp only [length_append_sub, ↓reduceIte]
-s    rw [ih v rest h.1]
-    simp only [length_append_sub, ↓reduceIte]
-i    rw [ih v rest h.1]
-    simp only [length_append_sub, ↓reduceIte]
-m    rw [ih v rest h.1]
-    simp only [length_append_sub, ↓reduceIte]
-p    rw [ih v rest h.1]
-    simp only [length_append_sub, ↓reduceIte]
-     rw [ih v rest h.1]
-    simp only [length_append_sub, ↓reduceIte]
-o    rw [ih v rest h.1]
-    simp only [length_append_sub, ↓reduceIte]
-n    rw [ih v rest h.1]
-    simp only [length_append_sub, ↓reduceIte]
-l    rw [ih v rest h.1]
-    simp only [length_append_sub, ↓reduceIte]
-y    rw [ih v rest h.1]
-    simp only [length_append_sub, ↓reduceIte]
-     rw [ih v rest h.1]
-    simp only [length_append_sub, ↓reduceIte]
-[    rw [ih v rest h.1]
-    simp only [length_append_sub, ↓reduceIte]
-g    rw [ih v rest h.1]
-    simp only [length_append_sub, ↓reduceIte]
-e    rw [ih v rest h.1]
-    simp only [length_append_sub, ↓reduceIte]
-t    rw [ih v rest h.1]
-    simp only [length_append_sub, ↓reduceIte]
-C    rw [ih v rest h.1]
-    simp only [length_append_sub, ↓reduceIte]
-o    rw [ih v rest h.1]
-    simp only [length_append_sub, ↓reduceIte]
-u    rw [ih v rest h.1]
-    simp only [length_append_sub, ↓reduceIte]
-n    rw [ih v rest h.1]
-    simp only [length_append_sub, ↓reduceIte]
-t    rw [ih v rest h.1]
-    simp only [length_append_sub, ↓reduceIte]
-,    rw [ih v rest h.1]
-    simp only [length_append_sub, ↓reduceIte]
-     rw [ih v rest h.1]
-    simp only [length_append_sub, ↓reduceIte]
-p    rw [ih v rest h.1]
-    simp only [length_append_sub, ↓reduceIte]
-u    rw [ih v rest h.1]
-    simp only [length_append_sub, ↓reduceIte]
-t    rw [ih v rest h.1]
-    simp only [length_append_sub, ↓reduceIte]
-C    rw [ih v rest h.1]
-    simp only [length_append_sub, ↓reduceIte]
-o    rw [ih v rest h.1]
-    simp only [length_append_sub, ↓reduceIte]
-u    rw [ih v rest h.1]
-    simp only [length_append_sub, ↓reduceIte]
-n    rw [ih v rest h.1]
-    simp only [length_append_sub, ↓reduceIte]
-t    rw [ih v rest h.1]
-    simp only [length_append_sub, ↓reduceIte]
-]    rw [ih v rest h.1]
-    simp only [length_append_sub, ↓reduceIte]
-
-    rw [ih v rest h.1]
-    simp only [length_append_sub, ↓reduceIte]
-     rw [ih v rest h.1]
-    simp only [length_append_sub, ↓reduceIte]
-     rw [ih v rest h.1]
-    simp only [length_append_sub, ↓reduceIte]
-r    rw [ih v rest h.1]
-    simp only [length_append_sub, ↓reduceIte]
-w    rw [ih v rest h.1]
-    simp only [length_append_sub, ↓reduceIte]
-     rw [ih v rest h.1]
-    simp only [length_append_sub, ↓reduceIte]
-[    rw [ih v rest h.1]
-    simp only [length_append_sub, ↓reduceIte]
-g    rw [ih v rest h.1]
-    simp only [length_append_sub, ↓reduceIte]
-e    rw [ih v rest h.1]
-    simp only [length_append_sub, ↓reduceIte]
-t    rw [ih v rest h.1]
-    simp only [length_append_sub, ↓reduceIte]
-A    rw [ih v rest h.1]
-    simp only [length_append_sub, ↓reduceIte]
-r    rw [ih v rest h.1]
-    simp only [length_append_sub, ↓reduceIte]
-r    rw [ih v rest h.1]
-    simp only [length_append_sub, ↓reduceIte]
-a    rw [ih v rest h.1]
-    simp only [length_append_sub, ↓reduceIte]
-y    rw [ih v rest h.1]
-    simp only [length_append_sub, ↓reduceIte]
-L    rw [ih v rest h.1]
-    simp only [length_append_sub, ↓reduceIte]
-e    rw [ih v rest h.1]
-    simp only [length_append_sub, ↓reduceIte]
-n    rw [ih v rest h.1]
-    simp only [length_append_sub, ↓reduceIte]
-g    rw [ih v rest h.1]
-    simp only [length_append_sub, ↓reduceIte]
-t    rw [ih v rest h.1]
-    simp only [length_append_sub, ↓reduceIte]
-h    rw [ih v rest h.1]
-    simp only [length_append_sub, ↓reduceIte]
-_    rw [ih v rest h.1]
-    simp only [length_append_sub, ↓reduceIte]
-p    rw [ih v rest h.1]
-    simp only [length_append_sub, ↓reduceIte]
-u    rw [ih v rest h.1]
-    simp only [length_append_sub, ↓reduceIte]
-t    rw [ih v rest h.1]
-    simp only [length_append_sub, ↓reduceIte]
-     rw [ih v rest h.1]
-    simp only [length_append_sub, ↓reduceIte]
-(    rw [ih v rest h.1]
-    simp only [length_append_sub, ↓reduceIte]
--    rw [ih v rest h.1]
-    simp only [length_append_sub, ↓reduceIte]
-1    rw [ih v rest h.1]
-    simp only [length_append_sub, ↓reduceIte]
-)    rw [ih v rest h.1]
-    simp only [length_append_sub, ↓reduceIte]
-     rw [ih v rest h.1]
-    simp only [length_append_sub, ↓reduceIte]
-r    rw [ih v rest h.1]
-    simp only [length_append_sub, ↓reduceIte]
-e    rw [ih v rest h.1]
-    simp only [length_append_sub, ↓reduceIte]
-s    rw [ih v rest h.1]
-    simp only [length_append_sub, ↓reduceIte]
-t    rw [ih v rest h.1]
-    simp only [length_append_sub, ↓reduceIte]
-     rw [ih v rest h.1]
-    simp only [length_append_sub, ↓reduceIte]
-(    rw [ih v rest h.1]
-    simp only [length_append_sub, ↓reduceIte]
-i    rw [ih v rest h.1]
-    simp only [length_append_sub, ↓reduceIte]
-n    rw [ih v rest h.1]
-    simp only [length_append_sub, ↓reduceIte]
-I    rw [ih v rest h.1]
-    simp only [length_append_sub, ↓reduceIte]
-n    rw [ih v rest h.1]
-    simp only [length_append_sub, ↓reduceIte]
-t    rw [ih v rest h.1]
-    simp only [length_append_sub, ↓reduceIte]
-_    rw [ih v rest h.1]
-    simp only [length_append_sub, ↓reduceIte]
-n    rw [ih v rest h.1]
-    simp only [length_append_sub, ↓reduceIte]
-e    rw [ih v rest h.1]
-    simp only [length_append_sub, ↓reduceIte]
-g    rw [ih v rest h.1]
-    simp only [length_append_sub, ↓reduceIte]
-1    rw [ih v rest h.1]
-    simp only [length_append_sub, ↓reduceIte]
-     rw [ih v rest h.1]
-    simp only [length_append_sub, ↓reduceIte]
-4    rw [ih v rest h.1]
-    simp only [length_append_sub, ↓reduceIte]
-     rw [ih v rest h.1]
-    simp only [length_append_sub, ↓reduceIte]
-(    rw [ih v rest h.1]
-    simp only [length_append_sub, ↓reduceIte]
-b    rw [ih v rest h.1]
-    simp only [length_append_sub, ↓reduceIte]
-y    rw [ih v rest h.1]
-    simp only [length_append_sub, ↓reduceIte]
-     rw [ih v rest h.1]
-    simp only [length_append_sub, ↓reduceIte]
-d    rw [ih v rest h.1]
-    simp only [length_append_sub, ↓reduceIte]
-e    rw [ih v rest h.1]
-    simp only [length_append_sub, ↓reduceIte]
-c    rw [ih v rest h.1]
-    simp only [length_append_sub, ↓reduceIte]
-i    rw [ih v rest h.1]
-    simp only [length_append_sub, ↓reduceIte]
-d    rw [ih v rest h.1]
-    simp only [length_append_sub, ↓reduceIte]
-e    rw [ih v rest h.1]
-    simp only [length_append_sub, ↓reduceIte]
-)    rw [ih v rest h.1]
-    simp only [length_append_sub, ↓reduceIte]
-)    rw [ih v rest h.1]
-    simp only [length_append_sub, ↓reduceIte]
-     rw [ih v rest h.1]
-    simp only [length_append_sub, ↓reduceIte]
-(    rw [ih v rest h.1]
-    simp only [length_append_sub, ↓reduceIte]
-b    rw [ih v rest h.1]
-    simp only [length_append_sub, ↓reduceIte]
-y    rw [ih v rest h.1]
-    simp only [length_append_sub, ↓reduceIte]
-     rw [ih v rest h.1]
-    simp only [length_append_sub, ↓reduceIte]
-o    rw [ih v rest h.1]
-    simp only [length_append_sub, ↓reduceIte]
-m    rw [ih v rest h.1]
-    simp only [length_append_sub, ↓reduceIte]
-e    rw [ih v rest h.1]
-    simp only [length_append_sub, ↓reduceIte]
-g    rw [ih v rest h.1]
-    simp only [length_append_sub, ↓reduceIte]
-a    rw [ih v rest h.1]
-    simp only [length_append_sub, ↓reduceIte]
-)    rw [ih v rest h.1]
-    simp only [length_append_sub, ↓reduceIte]
-     rw [ih v rest h.1]
-    simp only [length_append_sub, ↓reduceIte]
-(    rw [ih v rest h.1]
-    simp only [length_append_sub, ↓reduceIte]
-b    rw [ih v rest h.1]
-    simp only [length_append_sub, ↓reduceIte]
-y    rw [ih v rest h.1]
-    simp only [length_append_sub, ↓reduceIte]
-     rw [ih v rest h.1]
-    simp only [length_append_sub, ↓reduceIte]
-o    rw [ih v rest h.1]
-    simp only [length_append_sub, ↓reduceIte]
-m    rw [ih v rest h.1]
-    simp only [length_append_sub, ↓reduceIte]
-e    rw [ih v rest h.1]
-    simp only [length_append_sub, ↓reduceIte]
-g    rw [ih v rest h.1]
-    simp only [length_append_sub, ↓reduceIte]
-a    rw [ih v rest h.1]
-    simp only [length_append_sub, ↓reduceIte]
-)    rw [ih v rest h.1]
-    simp only [length_append_sub, ↓reduceIte]
-     rw [ih v rest h.1]
-    simp only [length_append_sub, ↓reduceIte]
-(    rw [ih v rest h.1]
-    simp only [length_append_sub, ↓reduceIte]
-b    rw [ih v rest h.1]
-    simp only [length_append_sub, ↓reduceIte]
-y    rw [ih v rest h.1]
-    simp only [length_append_sub, ↓reduceIte]
-     rw [ih v rest h.1]
-    simp only [length_append_sub, ↓reduceIte]
-o    rw [ih v rest h.1]
-    simp only [length_append_sub, ↓reduceIte]
-m    rw [ih v rest h.1]
-    simp only [length_append_sub, ↓reduceIte]
-e    rw [ih v rest h.1]
-    simp only [length_append_sub, ↓reduceIte]
-g    rw [ih v rest h.1]
-    simp only [length_append_sub, ↓reduceIte]
-a    rw [ih v rest h.1]
-    simp only [length_append_sub, ↓reduceIte]
-)    rw [ih v rest h.1]
-    simp only [length_append_sub, ↓reduceIte]
-]    rw [ih v rest h.1]
-    simp only [length_append_sub, ↓reduceIte]
-
-    rw [ih v rest h.1]
-    simp only [length_append_sub, ↓reduceIte]
-     rw [ih v rest h.1]
-    simp only [length_append_sub, ↓reduceIte]
-     rw [ih v rest h.1]
-    simp only [length_append_sub, ↓reduceIte]
-s    rw [ih v rest h.1]
-    simp only [length_append_sub, ↓reduceIte]
-i    rw [ih v rest h.1]
-    simp only [length_append_sub, ↓reduceIte]
-m    rw [ih v rest h.1]
-    simp only [length_append_sub, ↓reduceIte]
-p    rw [ih v rest h.1]
-    simp only [length_append_sub, ↓reduceIte]
-     rw [ih v rest h.1]
-    simp only [length_append_sub, ↓reduceIte]
-o    rw [ih v rest h.1]
-    simp only [length_append_sub, ↓reduceIte]
-n    rw [ih v rest h.1]
-    simp only [length_append_sub, ↓reduceIte]
-l    rw [ih v rest h.1]
-    simp only [length_append_sub, ↓reduceIte]
-y    rw [ih v rest h.1]
-    simp only [length_append_sub, ↓reduceIte]
-     rw [ih v rest h.1]
-    simp only [length_append_sub, ↓reduceIte]
-[    rw [ih v rest h.1]
-    simp only [length_append_sub, ↓reduceIte]
-↓    rw [ih v rest h.1]
-    simp only [length_append_sub, ↓reduceIte]
-r    rw [ih v rest h.1]
-    simp only [length_append_sub, ↓reduceIte]
-e    rw [ih v rest h.1]
-    simp only [length_append_sub, ↓reduceIte]
-d    rw [ih v rest h.1]
-    simp only [length_append_sub, ↓reduceIte]
-u    rw [ih v rest h.1]
-    simp only [length_append_sub, ↓reduceIte]
-c    rw [ih v rest h.1]
-    simp only [length_append_sub, ↓reduceIte]
-e    rw [ih v rest h.1]
-    simp only [length_append_sub, ↓reduceIte]
-I    rw [ih v rest h.1]
-    simp only [length_append_sub, ↓reduceIte]
-t    rw [ih v rest h.1]
-    simp only [length_append_sub, ↓reduceIte]
-e    rw [ih v rest h.1]
-    simp only [length_append_sub, ↓reduceIte]
-]    rw [ih v rest h.1]
-    simp only [length_append_sub, ↓reduceIte]
-
-    rw [ih v rest h.1]
-    simp only [length_append_sub, ↓reduceIte]
-
-    rw [ih v rest h.1]
-    simp only [length_append_sub, ↓reduceIte]
-/    rw [ih v rest h.1]
-    simp only [length_append_sub, ↓reduceIte]
--    rw [ih v rest h.1]
-    simp only [length_append_sub, ↓reduceIte]
-!    rw [ih v rest h.1]
-    simp only [length_append_sub, ↓reduceIte]
-     rw [ih v rest h.1]
-    simp only [length_append_sub, ↓reduceIte]
-#    rw [ih v rest h.1]
-    simp only [length_append_sub, ↓reduceIte]
-#    rw [ih v rest h.1]
-    simp only [length_append_sub, ↓reduceIte]
-#    rw [ih v rest h.1]
-    simp only [length_append_sub, ↓reduceIte]
-     rw [ih v rest h.1]
-    simp only [length_append_sub, ↓reduceIte]
-g    rw [ih v rest h.1]
-    simp only [length_append_sub, ↓reduceIte]
-e    rw [ih v rest h.1]
-    simp only [length_append_sub, ↓reduceIte]
-n    rw [ih v rest h.1]
-    simp only [length_append_sub, ↓reduceIte]
-e    rw [ih v rest h.1]
-    simp only [length_append_sub, ↓reduceIte]
-r    rw [ih v rest h.1]
-    simp only [length_append_sub, ↓reduceIte]
-i    rw [ih v rest h.1]
-    simp only [length_append_sub, ↓reduceIte]
-c    rw [ih v rest h.1]
-    simp only [length_append_sub, ↓reduceIte]
-     rw [ih v rest h.1]
-    simp only [length_append_sub, ↓reduceIte]
-t    rw [ih v rest h.1]
-    simp only [length_append_sub, ↓reduceIte]
-h    rw [ih v rest h.1]
-    simp only [length_append_sub, ↓reduceIte]
-e    rw [ih v rest h.1]
-    simp only [length_append_sub, ↓reduceIte]
-o    rw [ih v rest h.1]
-    simp only [length_append_sub, ↓reduceIte]
-r    rw [ih v rest h.1]
-    simp only [length_append_sub, ↓reduceIte]
-e    rw [ih v rest h.1]
-    simp only [length_append_sub, ↓reduceIte]
-m    rw [ih v rest h.1]
-    simp only [length_append_sub, ↓reduceIte]
-s    rw [ih v rest h.1]
-    simp only [length_append_sub, ↓reduceIte]
-     rw [ih v rest h.1]
-    simp only [length_append_sub, ↓reduceIte]
--    rw [ih v rest h.1]
-    simp only [length_append_sub, ↓reduceIte]
-/    rw [ih v rest h.1]
-    simp only [length_append_sub, ↓reduceIte]
-
-    rw [ih v rest h.1]
-    simp only [length_append_sub, ↓reduceIte]
-
-    rw [ih v rest h.1]
-    simp only [length_append_sub, ↓reduceIte]
-t    rw [ih v rest h.1]
-    simp only [length_append_sub, ↓reduceIte]
-h    rw [ih v rest h.1]
-    simp only [length_append_sub, ↓reduceIte]
-e    rw [ih v rest h.1]
-    simp only [length_append_sub, ↓reduceIte]
-o    rw [ih v rest h.1]
-    simp only [length_append_sub, ↓reduceIte]
-r    rw [ih v rest h.1]
-    simp only [length_append_sub, ↓reduceIte]
-e    rw [ih v rest h.1]
-    simp only [length_append_sub, ↓reduceIte]
-m    rw [ih v rest h.1]
-    simp only [length_append_sub, ↓reduceIte]
-     rw [ih v rest h.1]
-    simp only [length_append_sub, ↓reduceIte]
-s    rw [ih v rest h.1]
-    simp only [length_append_sub, ↓reduceIte]
-u    rw [ih v rest h.1]
-    simp only [length_append_sub, ↓reduceIte]
-m    rw [ih v rest h.1]
-    simp only [length_append_sub, ↓reduceIte]
-_    rw [ih v rest h.1]
-    simp only [length_append_sub, ↓reduceIte]
-m    rw [ih v rest h.1]
-    simp only [length_append_sub, ↓reduceIte]
-a    rw [ih v rest h.1]
-    simp only [length_append_sub, ↓reduceIte]
-p    rw [ih v rest h.1]
-    simp only [length_append_sub, ↓reduceIte]
-_    rw [ih v rest h.1]
-    simp only [length_append_sub, ↓reduceIte]
-l    rw [ih v rest h.1]
-    simp only [length_append_sub, ↓reduceIte]
-e    rw [ih v rest h.1]
-    simp only [length_append_sub, ↓reduceIte]
-n    rw [ih v rest h.1]
-    simp only [length_append_sub, ↓reduceIte]
-g    rw [ih v rest h.1]
-    simp only [length_append_sub, ↓reduceIte]
-t    rw [ih v rest h.1]
-    simp only [length_append_sub, ↓reduceIte]
-h    rw [ih v rest h.1]
-    simp only [length_append_sub, ↓reduceIte]
-_    rw [ih v rest h.1]
-    simp only [length_append_sub, ↓reduceIte]
-f    rw [ih v rest h.1]
-    simp only [length_append_sub, ↓reduceIte]
-l    rw [ih v rest h.1]
-    simp only [length_append_sub, ↓reduceIte]
-a    rw [ih v rest h.1]
-    simp only [length_append_sub, ↓reduceIte]
-t    rw [ih v rest h.1]
-    simp only [length_append_sub, ↓reduceIte]
-t    rw [ih v rest h.1]
-    simp only [length_append_sub, ↓reduceIte]
-e    rw [ih v rest h.1]
-    simp only [length_append_sub, ↓reduceIte]
-n    rw [ih v rest h.1]
-    simp only [length_append_sub, ↓reduceIte]
-     rw [ih v rest h.1]
-    simp only [length_append_sub, ↓reduceIte]
-{    rw [ih v rest h.1]
-    simp only [length_append_sub, ↓reduceIte]
-α    rw [ih v rest h.1]
-    simp only [length_append_sub, ↓reduceIte]
-     rw [ih v rest h.1]
-    simp only [length_append_sub, ↓reduceIte]
-:    rw [ih v rest h.1]
-    simp only [length_append_sub, ↓reduceIte]
-     rw [ih v rest h.1]
-    simp only [length_append_sub, ↓reduceIte]
-T    rw [ih v rest h.1]
-    simp only [length_append_sub, ↓reduceIte]
-y    rw [ih v rest h.1]
-    simp only [length_append_sub, ↓reduceIte]
-p    rw [ih v rest h.1]
-    simp only [length_append_sub, ↓reduceIte]
-e    rw [ih v rest h.1]
-    simp only [length_append_sub, ↓reduceIte]
-}    rw [ih v rest h.1]
-    simp only [length_append_sub, ↓reduceIte]
-     rw [ih v rest h.1]
-    simp only [length_append_sub, ↓reduceIte]
-(    rw [ih v rest h.1]
-    simp only [length_append_sub, ↓reduceIte]
-g    rw [ih v rest h.1]
-    simp only [length_append_sub, ↓reduceIte]
-     rw [ih v rest h.1]
-    simp only [length_append_sub, ↓reduceIte]
-:    rw [ih v rest h.1]
-    simp only [length_append_sub, ↓reduceIte]
-     rw [ih v rest h.1]
-    simp only [length_append_sub, ↓reduceIte]
-α    rw [ih v rest h.1]
-    simp only [length_append_sub, ↓reduceIte]
-     rw [ih v rest h.1]
-    simp only [length_append_sub, ↓reduceIte]
-→    rw [ih v rest h.1]
-    simp only [length_append_sub, ↓reduceIte]
-     rw [ih v rest h.1]
-    simp only [length_append_sub, ↓reduceIte]
-B    rw [ih v rest h.1]
-    simp only [length_append_sub, ↓reduceIte]
-y    rw [ih v rest h.1]
-    simp only [length_append_sub, ↓reduceIte]
-t    rw [ih v rest h.1]
-    simp only [length_append_sub, ↓reduceIte]
-e    rw [ih v rest h.1]
-    simp only [length_append_sub, ↓reduceIte]
-s    rw [ih v rest h.1]
-    simp only [length_append_sub, ↓reduceIte]
-)    rw [ih v rest h.1]
-    simp only [length_append_sub, ↓reduceIte]
-     rw [ih v rest h.1]
-    simp only [length_append_sub, ↓reduceIte]
-(    rw [ih v rest h.1]
-    simp only [length_append_sub, ↓reduceIte]
-s    rw [ih v rest h.1]
-    simp only [length_append_sub, ↓reduceIte]
-     rw [ih v rest h.1]
-    simp only [length_append_sub, ↓reduceIte]
-:    rw [ih v rest h.1]
-    simp only [length_append_sub, ↓reduceIte]
-     rw [ih v rest h.1]
-    simp only [length_append_sub, ↓reduceIte]
-α    rw [ih v rest h.1]
-    simp only [length_append_sub, ↓reduceIte]
-     rw [ih v rest h.1]
-    simp only [length_append_sub, ↓reduceIte]
-→    rw [ih v rest h.1]
-    simp only [length_append_sub, ↓reduceIte]
-     rw [ih v rest h.1]
-    simp only [length_append_sub, ↓reduceIte]
-N    rw [ih v rest h.1]
-    simp only [length_append_sub, ↓reduceIte]
-a    rw [ih v rest h.1]
-    simp only [length_append_sub, ↓reduceIte]
-t    rw [ih v rest h.1]
-    simp only [length_append_sub, ↓reduceIte]
-)    rw [ih v rest h.1]
-    simp only [length_append_sub, ↓reduceIte]
-     rw [ih v rest h.1]
-    simp only [length_append_sub, ↓reduceIte]
-(    rw [ih v rest h.1]
-    simp only [length_append_sub, ↓reduceIte]
-v    rw [ih v rest h.1]
-    simp only [length_append_sub, ↓reduceIte]
-s    rw [ih v rest h.1]
-    simp only [length_append_sub, ↓reduceIte]
-     rw [ih v rest h.1]
-    simp only [length_append_sub, ↓reduceIte]
-:    rw [ih v rest h.1]
-    simp only [length_append_sub, ↓reduceIte]
-     rw [ih v rest h.1]
-    simp only [length_append_sub, ↓reduceIte]
-L    rw [ih v rest h.1]
-    simp only [length_append_sub, ↓reduceIte]
-i    rw [ih v rest h.1]
-    simp only [length_append_sub, ↓reduceIte]
-s    rw [ih v rest h.1]
-    simp only [length_append_sub, ↓reduceIte]
-t    rw [ih v rest h.1]
-    simp only [length_append_sub, ↓reduceIte]
-     rw [ih v rest h.1]
-    simp only [length_append_sub, ↓reduceIte]
-α    rw [ih v rest h.1]
-    simp only [length_append_sub, ↓reduceIte]
-)    rw [ih v rest h.1]
-    simp only [length_append_sub, ↓reduceIte]
-     rw [ih v rest h.1]
-    simp only [length_append_sub, ↓reduceIte]
-(    rw [ih v rest h.1]
-    simp only [length_append_sub, ↓reduceIte]
-h    rw [ih v rest h.1]
-    simp only [length_append_sub, ↓reduceIte]
-     rw [ih v rest h.1]
-    simp only [length_append_sub, ↓reduceIte]
-:    rw [ih v rest h.1]
-    simp only [length_append_sub, ↓reduceIte]
-     rw [ih v rest h.1]
-    simp only [length_append_sub, ↓reduceIte]
-∀    rw [ih v rest h.1]
-    simp only [length_append_sub, ↓reduceIte]
-     rw [ih v rest h.1]
-    simp only [length_append_sub, ↓reduceIte]
-v    rw [ih v rest h.1]
-    simp only [length_append_sub, ↓reduceIte]
-,    rw [ih v rest h.1]
-    simp only [length_append_sub, ↓reduceIte]
-     rw [ih v rest h.1]
-    simp only [length_append_sub, ↓reduceIte]
-s    rw [ih v rest h.1]
-    simp only [length_append_sub, ↓reduceIte]
-     rw [ih v rest h.1]
-    simp only [length_append_sub, ↓reduceIte]
-v    rw [ih v rest h.1]
-    simp only [length_append_sub, ↓reduceIte]
-     rw [ih v rest h.1]
-    simp only [length_append_sub, ↓reduceIte]
-=    rw [ih v rest h.1]
-    simp only [length_append_sub, ↓reduceIte]
-     rw [ih v rest h.1]
-    simp only [length_append_sub, ↓reduceIte]
-(    rw [ih v rest h.1]
-    simp only [length_append_sub, ↓reduceIte]
-g    rw [ih v rest h.1]
-    simp only [length_append_sub, ↓reduceIte]
-     rw [ih v rest h.1]
-    simp only [length_append_sub, ↓reduceIte]
-v    rw [ih v rest h.1]
-    simp only [length_append_sub, ↓reduceIte]
-)    rw [ih v rest h.1]
-    simp only [length_append_sub, ↓reduceIte]
-.    rw [ih v rest h.1]
-    simp only [length_append_sub, ↓reduceIte]
-l    rw [ih v rest h.1]
-    simp only [length_append_sub, ↓reduceIte]
-e    rw [ih v rest h.1]
-    simp only [length_append_sub, ↓reduceIte]
-n    rw [ih v rest h.1]
-    simp only [length_append_sub, ↓reduceIte]
-g    rw [ih v rest h.1]
-    simp only [length_append_sub, ↓reduceIte]
-t    rw [ih v rest h.1]
-    simp only [length_append_sub, ↓reduceIte]
-h    rw [ih v rest h.1]
-    simp only [length_append_sub, ↓reduceIte]
-)    rw [ih v rest h.1]
-    simp only [length_append_sub, ↓reduceIte]
-     rw [ih v rest h.1]
-    simp only [length_append_sub, ↓reduceIte]
-:    rw [ih v rest h.1]
-    simp only [length_append_sub, ↓reduceIte]
-
-    rw [ih v rest h.1]
-    simp only [length_append_sub, ↓reduceIte]
-     rw [ih v rest h.1]
-    simp only [length_append_sub, ↓reduceIte]
-     rw [ih v rest h.1]
-    simp only [length_append_sub, ↓reduceIte]
-     rw [ih v rest h.1]
-    simp only [length_append_sub, ↓reduceIte]
-     rw [ih v rest h.1]
-    simp only [length_append_sub, ↓reduceIte]
-(    rw [ih v rest h.1]
-    simp only [length_append_sub, ↓reduceIte]
-v    rw [ih v rest h.1]
-    simp only [length_append_sub, ↓reduceIte]
-s    rw [ih v rest h.1]
-    simp only [length_append_sub, ↓reduceIte]
-.    rw [ih v rest h.1]
-    simp only [length_append_sub, ↓reduceIte]
-m    rw [ih v rest h.1]
-    simp only [length_append_sub, ↓reduceIte]
-a    rw [ih v rest h.1]
-    simp only [length_append_sub, ↓reduceIte]
-p    rw [ih v rest h.1]
-    simp only [length_append_sub, ↓reduceIte]
-     rw [ih v rest h.1]
-    simp only [length_append_sub, ↓reduceIte]
-s    rw [ih v rest h.1]
-    simp only [length_append_sub, ↓reduceIte]
-)    rw [ih v rest h.1]
-    simp only [length_append_sub, ↓reduceIte]
-.    rw [ih v rest h.1]
-    simp only [length_append_sub, ↓reduceIte]
-s    rw [ih v rest h.1]
-    simp only [length_append_sub, ↓reduceIte]
-u    rw [ih v rest h.1]
-    simp only [length_append_sub, ↓reduceIte]
-m    rw [ih v rest h.1]
-    simp only [length_append_sub, ↓reduceIte]
-     rw [ih v rest h.1]
-    simp only [length_append_sub, ↓reduceIte]
-=    rw [ih v rest h.1]
-    simp only [length_append_sub, ↓reduceIte]
-     rw [ih v rest h.1]
-    simp only [length_append_sub, ↓reduceIte]
-(    rw [ih v rest h.1]
-    simp only [length_append_sub, ↓reduceIte]
-(    rw [ih v rest h.1]
-    simp only [length_append_sub, ↓reduceIte]
-v    rw [ih v rest h.1]
-    simp only [length_append_sub, ↓reduceIte]
-s    rw [ih v rest h.1]
-    simp only [length_append_sub, ↓reduceIte]
-.    rw [ih v rest h.1]
-    simp only [length_append_sub, ↓reduceIte]
-m    rw [ih v rest h.1]
-    simp only [length_append_sub, ↓reduceIte]
-a    rw [ih v rest h.1]
-    simp only [length_append_sub, ↓reduceIte]
-p    rw [ih v rest h.1]
-    simp only [length_append_sub, ↓reduceIte]
-     rw [ih v rest h.1]
-    simp only [length_append_sub, ↓reduceIte]
-g    rw [ih v rest h.1]
-    simp only [length_append_sub, ↓reduceIte]
-)    rw [ih v rest h.1]
-    simp only [length_append_sub, ↓reduceIte]
-.    rw [ih v rest h.1]
-    simp only [length_append_sub, ↓reduceIte]
-f    rw [ih v rest h.1]
-    simp only [length_append_sub, ↓reduceIte]
-l    rw [ih v rest h.1]
-    simp only [length_append_sub, ↓reduceIte]
-a    rw [ih v rest h.1]
-    simp only [length_append_sub, ↓reduceIte]
-t    rw [ih v rest h.1]
-    simp only [length_append_sub, ↓reduceIte]
-t    rw [ih v rest h.1]
-    simp only [length_append_sub, ↓reduceIte]
-e    rw [ih v rest h.1]
-    simp only [length_append_sub, ↓reduceIte]
-n    rw [ih v rest h.1]
-    simp only [length_append_sub, ↓reduceIte]
-)    rw [ih v rest h.1]
-    simp only [length_append_sub, ↓reduceIte]
-.    rw [ih v rest h.1]
-    simp only [length_append_sub, ↓reduceIte]
-l    rw [ih v rest h.1]
-    simp only [length_append_sub, ↓reduceIte]
-e    rw [ih v rest h.1]
-    simp only [length_append_sub, ↓reduceIte]
-n    rw [ih v rest h.1]
-    simp only [length_append_sub, ↓reduceIte]
-g    rw [ih v rest h.1]
-    simp only [length_append_sub, ↓reduceIte]
-t    rw [ih v rest h.1]
-    simp only [length_append_sub, ↓reduceIte]
-h    rw [ih v rest h.1]
-    simp only [length_append_sub, ↓reduceIte]
-     rw [ih v rest h.1]
-    simp only [length_append_sub, ↓reduceIte]
-:    rw [ih v rest h.1]
-    simp only [length_append_sub, ↓reduceIte]
-=    rw [ih v rest h.1]
-    simp only [length_append_sub, ↓reduceIte]
-     rw [ih v rest h.1]
-    simp only [length_append_sub, ↓reduceIte]
-b    rw [ih v rest h.1]
-    simp only [length_append_sub, ↓reduceIte]
-y    rw [ih v rest h.1]
-    simp only [length_append_sub, ↓reduceIte]
-
-    rw [ih v rest h.1]
-    simp only [length_append_sub, ↓reduceIte]
-     rw [ih v rest h.1]
-    simp only [length_append_sub, ↓reduceIte]
-     rw [ih v rest h.1]
-    simp only [length_append_sub, ↓reduceIte]
-i    rw [ih v rest h.1]
-    simp only [length_append_sub, ↓reduceIte]
-n    rw [ih v rest h.1]
-    simp only [length_append_sub, ↓reduceIte]
-d    rw [ih v rest h.1]
-    simp only [length_append_sub, ↓reduceIte]
-u    rw [ih v rest h.1]
-    simp only [length_append_sub, ↓reduceIte]
-c    rw [ih v rest h.1]
-    simp only [length_append_sub, ↓reduceIte]
-t    rw [ih v rest h.1]
-    simp only [length_append_sub, ↓reduceIte]
-i    rw [ih v rest h.1]
-    simp only [length_append_sub, ↓reduceIte]
-o    rw [ih v rest h.1]
-    simp only [length_append_sub, ↓reduceIte]
-n    rw [ih v rest h.1]
-    simp only [length_append_sub, ↓reduceIte]
-     rw [ih v rest h.1]
-    simp only [length_append_sub, ↓reduceIte]
-v    rw [ih v rest h.1]
-    simp only [length_append_sub, ↓reduceIte]
-s    rw [ih v rest h.1]
-    simp only [length_append_sub, ↓reduceIte]
-     rw [ih v rest h.1]
-    simp only [length_append_sub, ↓reduceIte]
-w    rw [ih v rest h.1]
-    simp only [length_append_sub, ↓reduceIte]
-i    rw [ih v rest h.1]
-    simp only [length_append_sub, ↓reduceIte]
-t    rw [ih v rest h.1]
-    simp only [length_append_sub, ↓reduceIte]
-h    rw [ih v rest h.1]
-    simp only [length_append_sub, ↓reduceIte]
-
-    rw [ih v rest h.1]
-    simp only [length_append_sub, ↓reduceIte]
-     rw [ih v rest h.1]
-    simp only [length_append_sub, ↓reduceIte]
-     rw [ih v rest h.1]
-    simp only [length_append_sub, ↓reduceIte]
-|    rw [ih v rest h.1]
-    simp only [length_append_sub, ↓reduceIte]
-     rw [ih v rest h.1]
-    simp only [length_append_sub, ↓reduceIte]
-n    rw [ih v rest h.1]
-    simp only [length_append_sub, ↓reduceIte]
-i    rw [ih v rest h.1]
-    simp only [length_append_sub, ↓reduceIte]
-l    rw [ih v rest h.1]
-    simp only [length_append_sub, ↓reduceIte]
-     rw [ih v rest h.1]
-    simp only [length_append_sub, ↓reduceIte]
-=    rw [ih v rest h.1]
-    simp only [length_append_sub, ↓reduceIte]
->    rw [ih v rest h.1]
-    simp only [length_append_sub, ↓reduceIte]
-     rw [ih v rest h.1]
-    simp only [length_append_sub, ↓reduceIte]
-r    rw [ih v rest h.1]
-    simp only [length_append_sub, ↓reduceIte]
-f    rw [ih v rest h.1]
-    simp only [length_append_sub, ↓reduceIte]
-l    rw [ih v rest h.1]
-    simp only [length_append_sub, ↓reduceIte]
-
-    rw [ih v rest h.1]
-    simp only [length_append_sub, ↓reduceIte]
-     rw [ih v rest h.1]
-    simp only [length_append_sub, ↓reduceIte]
-     rw [ih v rest h.1]
-    simp only [length_append_sub, ↓reduceIte]
-|    rw [ih v rest h.1]
-    simp only [length_append_sub, ↓reduceIte]
-     rw [ih v rest h.1]
-    simp only [length_append_sub, ↓reduceIte]
-c    rw [ih v rest h.1]
-    simp only [length_append_sub, ↓reduceIte]
-o    rw [ih v rest h.1]
-    simp only [length_append_sub, ↓reduceIte]
-n    rw [ih v rest h.1]
-    simp only [length_append_sub, ↓reduceIte]
-s    rw [ih v rest h.1]
-    simp only [length_append_sub, ↓reduceIte]
-     rw [ih v rest h.1]
-    simp only [length_append_sub, ↓reduceIte]
-v    rw [ih v rest h.1]
-    simp only [length_append_sub, ↓reduceIte]
-     rw [ih v rest h.1]
-    simp only [length_append_sub, ↓reduceIte]
-v    rw [ih v rest h.1]
-    simp only [length_append_sub, ↓reduceIte]
-s    rw [ih v rest h.1]
-    simp only [length_append_sub, ↓reduceIte]
-     rw [ih v rest h.1]
-    simp only [length_append_sub, ↓reduceIte]
-i    rw [ih v rest h.1]
-    simp only [length_append_sub, ↓reduceIte]
-h    rw [ih v rest h.1]
-    simp only [length_append_sub, ↓reduceIte]
-     rw [ih v rest h.1]
-    simp only [length_append_sub, ↓reduceIte]
-=    rw [ih v rest h.1]
-    simp only [length_append_sub, ↓reduceIte]
->    rw [ih v rest h.1]
-    simp only [length_append_sub, ↓reduceIte]
-     rw [ih v rest h.1]
-    simp only [length_append_sub, ↓reduceIte]
-s    rw [ih v rest h.1]
-    simp only [length_append_sub, ↓reduceIte]
-i    rw [ih v rest h.1]
-    simp only [length_append_sub, ↓reduceIte]
-m    rw [ih v rest h.1]
-    simp only [length_append_sub, ↓reduceIte]
-p    rw [ih v rest h.1]
-    simp only [length_append_sub, ↓reduceIte]
-     rw [ih v rest h.1]
-    simp only [length_append_sub, ↓reduceIte]
-o    rw [ih v rest h.1]
-    simp only [length_append_sub, ↓reduceIte]
-n    rw [ih v rest h.1]
-    simp only [length_append_sub, ↓reduceIte]
-l    rw [ih v rest h.1]
-    simp only [length_append_sub, ↓reduceIte]
-y    rw [ih v rest h.1]
-    simp only [length_append_sub, ↓reduceIte]
-     rw [ih v rest h.1]
-    simp only [length_append_sub, ↓reduceIte]
-[    rw [ih v rest h.1]
-    simp only [length_append_sub, ↓reduceIte]
-L    rw [ih v rest h.1]
-    simp only [length_append_sub, ↓reduceIte]
-i    rw [ih v rest h.1]
-    simp only [length_append_sub, ↓reduceIte]
-s    rw [ih v rest h.1]
-    simp only [length_append_sub, ↓reduceIte]
-t    rw [ih v rest h.1]
-    simp only [length_append_sub, ↓reduceIte]
-.    rw [ih v rest h.1]
-    simp only [length_append_sub, ↓reduceIte]
-m    rw [ih v rest h.1]
-    simp only [length_append_sub, ↓reduceIte]
-a    rw [ih v rest h.1]
-    simp only [length_append_sub, ↓reduceIte]
-p    rw [ih v rest h.1]
-    simp only [length_append_sub, ↓reduceIte]
-_    rw [ih v rest h.1]
-    simp only [length_append_sub, ↓reduceIte]
-c    rw [ih v rest h.1]
-    simp only [length_append_sub, ↓reduceIte]
-o    rw [ih v rest h.1]
-    simp only [length_append_sub, ↓reduceIte]
-n    rw [ih v rest h.1]
-    simp only [length_append_sub, ↓reduceIte]
-s    rw [ih v rest h.1]
-    simp only [length_append_sub, ↓reduceIte]
-,    rw [ih v rest h.1]
-    simp only [length_append_sub, ↓reduceIte]
-     rw [ih v rest h.1]
-    simp only [length_append_sub, ↓reduceIte]
-L    rw [ih v rest h.1]
-    simp only [length_append_sub, ↓reduceIte]
-i    rw [ih v rest h.1]
-    simp only [length_append_sub, ↓reduceIte]
-s    rw [ih v rest h.1]
-    simp only [length_append_sub, ↓reduceIte]
-t    rw [ih v rest h.1]
-    simp only [length_append_sub, ↓reduceIte]
-.    rw [ih v rest h.1]
-    simp only [length_append_sub, ↓reduceIte]
-s    rw [ih v rest h.1]
-    simp only [length_append_sub, ↓reduceIte]
-u    rw [ih v rest h.1]
-    simp only [length_append_sub, ↓reduceIte]
-m    rw [ih v rest h.1]
-    simp only [length_append_sub, ↓reduceIte]
-_    rw [ih v rest h.1]
-    simp only [length_append_sub, ↓reduceIte]
-c    rw [ih v rest h.1]
-    simp only [length_append_sub, ↓reduceIte]
-o    rw [ih v rest h.1]
-    simp only [length_append_sub, ↓reduceIte]
-n    rw [ih v rest h.1]
-    simp only [length_append_sub, ↓reduceIte]
-s    rw [ih v rest h.1]
-    simp only [length_append_sub, ↓reduceIte]
-,    rw [ih v rest h.1]
-    simp only [length_append_sub, ↓reduceIte]
-     rw [ih v rest h.1]
-    simp only [length_append_sub, ↓reduceIte]
-L    rw [ih v rest h.1]
-    simp only [length_append_sub, ↓reduceIte]
-i    rw [ih v rest h.1]
-    simp only [length_append_sub, ↓reduceIte]
-s    rw [ih v rest h.1]
-    simp only [length_append_sub, ↓reduceIte]
-t    rw [ih v rest h.1]
-    simp only [length_append_sub, ↓reduceIte]
-.    rw [ih v rest h.1]
-    simp only [length_append_sub, ↓reduceIte]
-f    rw [ih v rest h.1]
-    simp only [length_append_sub, ↓reduceIte]
-l    rw [ih v rest h.1]
-    simp only [length_append_sub, ↓reduceIte]
-a    rw [ih v rest h.1]
-    simp only [length_append_sub, ↓reduceIte]
-t    rw [ih v rest h.1]
-    simp only [length_append_sub, ↓reduceIte]
-t    rw [ih v rest h.1]
-    simp only [length_append_sub, ↓reduceIte]
-e    rw [ih v rest h.1]
-    simp only [length_append_sub, ↓reduceIte]
-n    rw [ih v rest h.1]
-    simp only [length_append_sub, ↓reduceIte]
-_    rw [ih v rest h.1]
-    simp only [length_append_sub, ↓reduceIte]
-c    rw [ih v rest h.1]
-    simp only [length_append_sub, ↓reduceIte]
-o    rw [ih v rest h.1]
-    simp only [length_append_sub, ↓reduceIte]
-n    rw [ih v rest h.1]
-    simp only [length_append_sub, ↓reduceIte]
-s    rw [ih v rest h.1]
-    simp only [length_append_sub, ↓reduceIte]
-,    rw [ih v rest h.1]
-    simp only [length_append_sub, ↓reduceIte]
-     rw [ih v rest h.1]
-    simp only [length_append_sub, ↓reduceIte]
-L    rw [ih v rest h.1]
-    simp only [length_append_sub, ↓reduceIte]
-i    rw [ih v rest h.1]
-    simp only [length_append_sub, ↓reduceIte]
-s    rw [ih v rest h.1]
-    simp only [length_append_sub, ↓reduceIte]
-t    rw [ih v rest h.1]
-    simp only [length_append_sub, ↓reduceIte]
-.    rw [ih v rest h.1]
-    simp only [length_append_sub, ↓reduceIte]
-l    rw [ih v rest h.1]
-    simp only [length_append_sub, ↓reduceIte]
-e    rw [ih v rest h.1]
-    simp only [length_append_sub, ↓reduceIte]
-n    rw [ih v rest h.1]
-    simp only [length_append_sub, ↓reduceIte]
-g    rw [ih v rest h.1]
-    simp only [length_append_sub, ↓reduceIte]
-t    rw [ih v rest h.1]
-    simp only [length_append_sub, ↓reduceIte]
-h    rw [ih v rest h.1]
-    simp only [length_append_sub, ↓reduceIte]
-_    rw [ih v rest h.1]
-    simp only [length_append_sub, ↓reduceIte]
-a    rw [ih v rest h.1]
-    simp only [length_append_sub, ↓reduceIte]
-p    rw [ih v rest h.1]
-    simp only [length_append_sub, ↓reduceIte]
-p    rw [ih v rest h.1]
-    simp only [length_append_sub, ↓reduceIte]
-e    rw [ih v rest h.1]
-    simp only [length_append_sub, ↓reduceIte]
-n    rw [ih v rest h.1]
-    simp only [length_append_sub, ↓reduceIte]
-d    rw [ih v rest h.1]
-    simp only [length_append_sub, ↓reduceIte]
-,    rw [ih v rest h.1]
-    simp only [length_append_sub, ↓reduceIte]
-     rw [ih v rest h.1]
-    simp only [length_append_sub, ↓reduceIte]
-i    rw [ih v rest h.1]
-    simp only [length_append_sub, ↓reduceIte]
-h    rw [ih v rest h.1]
-    simp only [length_append_sub, ↓reduceIte]
-,    rw [ih v rest h.1]
-    simp only [length_append_sub, ↓reduceIte]
-     rw [ih v rest h.1]
-    simp only [length_append_sub, ↓reduceIte]
-h    rw [ih v rest h.1]
-    simp only [length_append_sub, ↓reduceIte]
-]    rw [ih v rest h.1]
-    simp only [length_append_sub, ↓reduceIte]
-
-    rw [ih v rest h.1]
-    simp only [length_append_sub, ↓reduceIte]
-
-    rw [ih v rest h.1]
-    simp only [length_append_sub, ↓reduceIte]
-/    rw [ih v rest h.1]
-    simp only [length_append_sub, ↓reduceIte]
--    rw [ih v rest h.1]
-    simp only [length_append_sub, ↓reduceIte]
--    rw [ih v rest h.1]
-    simp only [length_append_sub, ↓reduceIte]
-     rw [ih v rest h.1]
-    simp only [length_append_sub, ↓reduceIte]
-G    rw [ih v rest h.1]
-    simp only [length_append_sub, ↓reduceIte]
-T    rw [ih v rest h.1]
-    simp only [length_append_sub, ↓reduceIte]
-:    rw [ih v rest h.1]
-    simp only [length_append_sub, ↓reduceIte]
-     rw [ih v rest h.1]
-    simp only [length_append_sub, ↓reduceIte]
-t    rw [ih v rest h.1]
-    simp only [length_append_sub, ↓reduceIte]
-h    rw [ih v rest h.1]
-    simp only [length_append_sub, ↓reduceIte]
-e    rw [ih v rest h.1]
-    simp only [length_append_sub, ↓reduceIte]
-     rw [ih v rest h.1]
-    simp only [length_append_sub, ↓reduceIte]
-s    rw [ih v rest h.1]
-    simp only [length_append_sub, ↓reduceIte]
-i    rw [ih v rest h.1]
-    simp only [length_append_sub, ↓reduceIte]
-z    rw [ih v rest h.1]
-    simp only [length_append_sub, ↓reduceIte]
-i    rw [ih v rest h.1]
-    simp only [length_append_sub, ↓reduceIte]
-n    rw [ih v rest h.1]
-    simp only [length_append_sub, ↓reduceIte]
-g    rw [ih v rest h.1]
-    simp only [length_append_sub, ↓reduceIte]
-     rw [ih v rest h.1]
-    simp only [length_append_sub, ↓reduceIte]
-p    rw [ih v rest h.1]
-    simp only [length_append_sub, ↓reduceIte]
-a    rw [ih v rest h.1]
-    simp only [length_append_sub, ↓reduceIte]
-s    rw [ih v rest h.1]
-    simp only [length_append_sub, ↓reduceIte]
-s    rw [ih v rest h.1]
-    simp only [length_append_sub, ↓reduceIte]
-     rw [ih v rest h.1]
-    simp only [length_append_sub, ↓reduceIte]
-a    rw [ih v rest h.1]
-    simp only [length_append_sub, ↓reduceIte]
-n    rw [ih v rest h.1]
-    simp only [length_append_sub, ↓reduceIte]
-d    rw [ih v rest h.1]
-    simp only [length_append_sub, ↓reduceIte]
-     rw [ih v rest h.1]
-    simp only [length_append_sub, ↓reduceIte]
-t    rw [ih v rest h.1]
-    simp only [length_append_sub, ↓reduceIte]
-h    rw [ih v rest h.1]
-    simp only [length_append_sub, ↓reduceIte]
-e    rw [ih v rest h.1]
-    simp only [length_append_sub, ↓reduceIte]
-     rw [ih v rest h.1]
-    simp only [length_append_sub, ↓reduceIte]
-w    rw [ih v rest h.1]
-    simp only [length_append_sub, ↓reduceIte]
-r    rw [ih v rest h.1]
-    simp only [length_append_sub, ↓reduceIte]
-i    rw [ih v rest h.1]
-    simp only [length_append_sub, ↓reduceIte]
-t    rw [ih v rest h.1]
-    simp only [length_append_sub, ↓reduceIte]
-i    rw [ih v rest h.1]
-    simp only [length_append_sub, ↓reduceIte]
-n    rw [ih v rest h.1]
-    simp only [length_append_sub, ↓reduceIte]
-g    rw [ih v rest h.1]
-    simp only [length_append_sub, ↓reduceIte]
-     rw [ih v rest h.1]
-    simp only [length_append_sub, ↓reduceIte]
-p    rw [ih v rest h.1]
-    simp only [length_append_sub, ↓reduceIte]
-a    rw [ih v rest h.1]
-    simp only [length_append_sub, ↓reduceIte]
-s    rw [ih v rest h.1]
-    simp only [length_append_sub, ↓reduceIte]
-s    rw [ih v rest h.1]
-    simp only [length_append_sub, ↓reduceIte]
-     rw [ih v rest h.1]
-    simp only [length_append_sub, ↓reduceIte]
-a    rw [ih v rest h.1]
-    simp only [length_append_sub, ↓reduceIte]
-g    rw [ih v rest h.1]
-    simp only [length_append_sub, ↓reduceIte]
-r    rw [ih v rest h.1]
-    simp only [length_append_sub, ↓reduceIte]
-e    rw [ih v rest h.1]
-    simp only [length_append_sub, ↓reduceIte]
-e    rw [ih v rest h.1]
-    simp only [length_append_sub, ↓reduceIte]
-     rw [ih v rest h.1]
-    simp only [length_append_sub, ↓reduceIte]
-e    rw [ih v rest h.1]
-    simp only [length_append_sub, ↓reduceIte]
-x    rw [ih v rest h.1]
-    simp only [length_append_sub, ↓reduceIte]
-a    rw [ih v rest h.1]
-    simp only [length_append_sub, ↓reduceIte]
-c    rw [ih v rest h.1]
-    simp only [length_append_sub, ↓reduceIte]
-t    rw [ih v rest h.1]
-    simp only [length_append_sub, ↓reduceIte]
-l    rw [ih v rest h.1]
-    simp only [length_append_sub, ↓reduceIte]
-y    rw [ih v rest h.1]
-    simp only [length_append_sub, ↓reduceIte]
-,    rw [ih v rest h.1]
-    simp only [length_append_sub, ↓reduceIte]
-     rw [ih v rest h.1]
-    simp only [length_append_sub, ↓reduceIte]
-f    rw [ih v rest h.1]
-    simp only [length_append_sub, ↓reduceIte]
-o    rw [ih v rest h.1]
-    simp only [length_append_sub, ↓reduceIte]
-r    rw [ih v rest h.1]
-    simp only [length_append_sub, ↓reduceIte]
-     rw [ih v rest h.1]
-    simp only [length_append_sub, ↓reduceIte]
-e    rw [ih v rest h.1]
-    simp only [length_append_sub, ↓reduceIte]
-v    rw [ih v rest h.1]
-    simp only [length_append_sub, ↓reduceIte]
-e    rw [ih v rest h.1]
-    simp only [length_append_sub, ↓reduceIte]
-r    rw [ih v rest h.1]
-    simp only [length_append_sub, ↓reduceIte]
-y    rw [ih v rest h.1]
-    simp only [length_append_sub, ↓reduceIte]
-     rw [ih v rest h.1]
-    simp only [length_append_sub, ↓reduceIte]
-s    rw [ih v rest h.1]
-    simp only [length_append_sub, ↓reduceIte]
-c    rw [ih v rest h.1]
-    simp only [length_append_sub, ↓reduceIte]
-h    rw [ih v rest h.1]
-    simp only [length_append_sub, ↓reduceIte]
-e    rw [ih v rest h.1]
-    simp only [length_append_sub, ↓reduceIte]
-m    rw [ih v rest h.1]
-    simp only [length_append_sub, ↓reduceIte]
-a    rw [ih v rest h.1]
-    simp only [length_append_sub, ↓reduceIte]
-,    rw [ih v rest h.1]
-    simp only [length_append_sub, ↓reduceIte]
-     rw [ih v rest h.1]
-    simp only [length_append_sub, ↓reduceIte]
-v    rw [ih v rest h.1]
-    simp only [length_append_sub, ↓reduceIte]
-e    rw [ih v rest h.1]
-    simp only [length_append_sub, ↓reduceIte]
-r    rw [ih v rest h.1]
-    simp only [length_append_sub, ↓reduceIte]
-s    rw [ih v rest h.1]
-    simp only [length_append_sub, ↓reduceIte]
-i    rw [ih v rest h.1]
-    simp only [length_append_sub, ↓reduceIte]
-o    rw [ih v rest h.1]
-    simp only [length_append_sub, ↓reduceIte]
-n    rw [ih v rest h.1]
-    simp only [length_append_sub, ↓reduceIte]
-     rw [ih v rest h.1]
-    simp only [length_append_sub, ↓reduceIte]
-a    rw [ih v rest h.1]
-    simp only [length_append_sub, ↓reduceIte]
-n    rw [ih v rest h.1]
-    simp only [length_append_sub, ↓reduceIte]
-d    rw [ih v rest h.1]
-    simp only [length_append_sub, ↓reduceIte]
-     rw [ih v rest h.1]
-    simp only [length_append_sub, ↓reduceIte]
-v    rw [ih v rest h.1]
-    simp only [length_append_sub, ↓reduceIte]
-a    rw [ih v rest h.1]
-    simp only [length_append_sub, ↓reduceIte]
-l    rw [ih v rest h.1]
-    simp only [length_append_sub, ↓reduceIte]
-u    rw [ih v rest h.1]
-    simp only [length_append_sub, ↓reduceIte]
-e    rw [ih v rest h.1]
-    simp only [length_append_sub, ↓reduceIte]
-     rw [ih v rest h.1]
-    simp only [length_append_sub, ↓reduceIte]
--    rw [ih v rest h.1]
-    simp only [length_append_sub, ↓reduceIte]
-/    rw [ih v rest h.1]
-    simp only [length_append_sub, ↓reduceIte]
-
-    rw [ih v rest h.1]
-    simp only [length_append_sub, ↓reduceIte]
-t    rw [ih v rest h.1]
-    simp only [length_append_sub, ↓reduceIte]
-h    rw [ih v rest h.1]
-    simp only [length_append_sub, ↓reduceIte]
-e    rw [ih v rest h.1]
-    simp only [length_append_sub, ↓reduceIte]
-o    rw [ih v rest h.1]
-    simp only [length_append_sub, ↓reduceIte]
-r    rw [ih v rest h.1]
-    simp only [length_append_sub, ↓reduceIte]
-e    rw [ih v rest h.1]
-    simp only [length_append_sub, ↓reduceIte]
-m    rw [ih v rest h.1]
-    simp only [length_append_sub, ↓reduceIte]
-     rw [ih v rest h.1]
-    simp only [length_append_sub, ↓reduceIte]
-s    rw [ih v rest h.1]
-    simp only [length_append_sub, ↓reduceIte]
-i    rw [ih v rest h.1]
-    simp only [length_append_sub, ↓reduceIte]
-z    rw [ih v rest h.1]
-    simp only [length_append_sub, ↓reduceIte]
-e    rw [ih v rest h.1]
-    simp only [length_append_sub, ↓reduceIte]
-_    rw [ih v rest h.1]
-    simp only [length_append_sub, ↓reduceIte]
-e    rw [ih v rest h.1]
-    simp only [length_append_sub, ↓reduceIte]
-q    rw [ih v rest h.1]
-    simp only [length_append_sub, ↓reduceIte]
-_    rw [ih v rest h.1]
-    simp only [length_append_sub, ↓reduceIte]
-e    rw [ih v rest h.1]
-    simp only [length_append_sub, ↓reduceIte]
-n    rw [ih v rest h.1]
-    simp only [length_append_sub, ↓reduceIte]
-c    rw [ih v rest h.1]
-    simp only [length_append_sub, ↓reduceIte]
-_    rw [ih v rest h.1]
-    simp only [length_append_sub, ↓reduceIte]
-l    rw [ih v rest h.1]
-    simp only [length_append_sub, ↓reduceIte]
-e    rw [ih v rest h.1]
-    simp only [length_append_sub, ↓reduceIte]
-n    rw [ih v rest h.1]
-    simp only [length_append_sub, ↓reduceIte]
-g    rw [ih v rest h.1]
-    simp only [length_append_sub, ↓reduceIte]
-t    rw [ih v rest h.1]
-    simp only [length_append_sub, ↓reduceIte]
-h    rw [ih v rest h.1]
-    simp only [length_append_sub, ↓reduceIte]
-     rw [ih v rest h.1]
-    simp only [length_append_sub, ↓reduceIte]
-(    rw [ih v rest h.1]
-    simp only [length_append_sub, ↓reduceIte]
-f    rw [ih v rest h.1]
-    simp only [length_append_sub, ↓reduceIte]
-     rw [ih v rest h.1]
-    simp only [length_append_sub, ↓reduceIte]
-:    rw [ih v rest h.1]
-    simp only [length_append_sub, ↓reduceIte]
-     rw [ih v rest h.1]
-    simp only [length_append_sub, ↓reduceIte]
-F    rw [ih v rest h.1]
-    simp only [length_append_sub, ↓reduceIte]
-m    rw [ih v rest h.1]
-    simp only [length_append_sub, ↓reduceIte]
-t    rw [ih v rest h.1]
-    simp only [length_append_sub, ↓reduceIte]
-)    rw [ih v rest h.1]
-    simp only [length_append_sub, ↓reduceIte]
-     rw [ih v rest h.1]
-    simp only [length_append_sub, ↓reduceIte]
-(    rw [ih v rest h.1]
-    simp only [length_append_sub, ↓reduceIte]
-v    rw [ih v rest h.1]
-    simp only [length_append_sub, ↓reduceIte]
-e    rw [ih v rest h.1]
-    simp only [length_append_sub, ↓reduceIte]
-r    rw [ih v rest h.1]
-    simp only [length_append_sub, ↓reduceIte]
-     rw [ih v rest h.1]
-    simp only [length_append_sub, ↓reduceIte]
-:    rw [ih v rest h.1]
-    simp only [length_append_sub, ↓reduceIte]
-     rw [ih v rest h.1]
-    simp only [length_append_sub, ↓reduceIte]
-N    rw [ih v rest h.1]
-    simp only [length_append_sub, ↓reduceIte]
-a    rw [ih v rest h.1]
-    simp only [length_append_sub, ↓reduceIte]
-t    rw [ih v rest h.1]
-    simp only [length_append_sub, ↓reduceIte]
-)    rw [ih v rest h.1]
-    simp only [length_append_sub, ↓reduceIte]
-     rw [ih v rest h.1]
-    simp only [length_append_sub, ↓reduceIte]
-:    rw [ih v rest h.1]
-    simp only [length_append_sub, ↓reduceIte]
-     rw [ih v rest h.1]
-    simp only [length_append_sub, ↓reduceIte]
-∀    rw [ih v rest h.1]
-    simp only [length_append_sub, ↓reduceIte]
-     rw [ih v rest h.1]
-    simp only [length_append_sub, ↓reduceIte]
-v    rw [ih v rest h.1]
-    simp only [length_append_sub, ↓reduceIte]
-     rw [ih v rest h.1]
-    simp only [length_append_sub, ↓reduceIte]
-:    rw [ih v rest h.1]
-    simp only [length_append_sub, ↓reduceIte]
-     rw [ih v rest h.1]
-    simp only [length_append_sub, ↓reduceIte]
-V    rw [ih v rest h.1]
-    simp only [length_append_sub, ↓reduceIte]
-a    rw [ih v rest h.1]
-    simp only [length_append_sub, ↓reduceIte]
-l    rw [ih v rest h.1]
-    simp only [length_append_sub, ↓reduceIte]
-,    rw [ih v rest h.1]
-    simp only [length_append_sub, ↓reduceIte]
-     rw [ih v rest h.1]
-    simp only [length_append_sub, ↓reduceIte]
-s    rw [ih v rest h.1]
-    simp only [length_append_sub, ↓reduceIte]
-i    rw [ih v rest h.1]
-    simp only [length_append_sub, ↓reduceIte]
-z    rw [ih v rest h.1]
-    simp only [length_append_sub, ↓reduceIte]
-e    rw [ih v rest h.1]
-    simp only [length_append_sub, ↓reduceIte]
-     rw [ih v rest h.1]
-    simp only [length_append_sub, ↓reduceIte]
-f    rw [ih v rest h.1]
-    simp only [length_append_sub, ↓reduceIte]
-     rw [ih v rest h.1]
-    simp only [length_append_sub, ↓reduceIte]
-v    rw [ih v rest h.1]
-    simp only [length_append_sub, ↓reduceIte]
-e    rw [ih v rest h.1]
-    simp only [length_append_sub, ↓reduceIte]
-r    rw [ih v rest h.1]
-    simp only [length_append_sub, ↓reduceIte]
-     rw [ih v rest h.1]
-    simp only [length_append_sub, ↓reduceIte]
-v    rw [ih v rest h.1]
-    simp only [length_append_sub, ↓reduceIte]
-     rw [ih v rest h.1]
-    simp only [length_append_sub, ↓reduceIte]
-=    rw [ih v rest h.1]
-    simp only [length_append_sub, ↓reduceIte]
-     rw [ih v rest h.1]
-    simp only [length_append_sub, ↓reduceIte]
-(    rw [ih v rest h.1]
-    simp only [length_append_sub, ↓reduceIte]
-e    rw [ih v rest h.1]
-    simp only [length_append_sub, ↓reduceIte]
-n    rw [ih v rest h.1]
-    simp only [length_append_sub, ↓reduceIte]
-c    rw [ih v rest h.1]
-    simp only [length_append_sub, ↓reduceIte]
-     rw [ih v rest h.1]
-    simp only [length_append_sub, ↓reduceIte]
-f    rw [ih v rest h.1]
-    simp only [length_append_sub, ↓reduceIte]
-     rw [ih v rest h.1]
-    simp only [length_append_sub, ↓reduceIte]
-v    rw [ih v rest h.1]
-    simp only [length_append_sub, ↓reduceIte]
-e    rw [ih v rest h.1]
-    simp only [length_append_sub, ↓reduceIte]
-r    rw [ih v rest h.1]
-    simp only [length_append_sub, ↓reduceIte]
-     rw [ih v rest h.1]
-    simp only [length_append_sub, ↓reduceIte]
-v    rw [ih v rest h.1]
-    simp only [length_append_sub, ↓reduceIte]
-)    rw [ih v rest h.1]
-    simp only [length_append_sub, ↓reduceIte]
-.    rw [ih v rest h.1]
-    simp only [length_append_sub, ↓reduceIte]
-l    rw [ih v rest h.1]
-    simp only [length_append_sub, ↓reduceIte]
-e    rw [ih v rest h.1]
-    simp only [length_append_sub, ↓reduceIte]
-n    rw [ih v rest h.1]
-    simp only [length_append_sub, ↓reduceIte]
-g    rw [ih v rest h.1]
-    simp only [length_append_sub, ↓reduceIte]
-t    rw [ih v rest h.1]
-    simp only [length_append_sub, ↓reduceIte]
-h    rw [ih v rest h.1]
-    simp only [length_append_sub, ↓reduceIte]
-     rw [ih v rest h.1]
-    simp only [length_append_sub, ↓reduceIte]
-:    rw [ih v rest h.1]
-    simp only [length_append_sub, ↓reduceIte]
-=    rw [ih v rest h.1]
-    simp only [length_append_sub, ↓reduceIte]
-     rw [ih v rest h.1]
-    simp only [length_append_sub, ↓reduceIte]
-b    rw [ih v rest h.1]
-    simp only [length_append_sub, ↓reduceIte]
-y    rw [ih v rest h.1]
-    simp only [length_append_sub, ↓reduceIte]
-
-    rw [ih v rest h.1]
-    simp only [length_append_sub, ↓reduceIte]
-     rw [ih v rest h.1]
-    simp only [length_append_sub, ↓reduceIte]
-     rw [ih v rest h.1]
-    simp only [length_append_sub, ↓reduceIte]
-i    rw [ih v rest h.1]
-    simp only [length_append_sub, ↓reduceIte]
-n    rw [ih v rest h.1]
-    simp only [length_append_sub, ↓reduceIte]
-d    rw [ih v rest h.1]
-    simp only [length_append_sub, ↓reduceIte]
-u    rw [ih v rest h.1]
-    simp only [length_append_sub, ↓reduceIte]
-c    rw [ih v rest h.1]
-    simp only [length_append_sub, ↓reduceIte]
-t    rw [ih v rest h.1]
-    simp only [length_append_sub, ↓reduceIte]
-i    rw [ih v rest h.1]
-    simp only [length_append_sub, ↓reduceIte]
-o    rw [ih v rest h.1]
-    simp only [length_append_sub, ↓reduceIte]
-n    rw [ih v rest h.1]
-    simp only [length_append_sub, ↓reduceIte]
-     rw [ih v rest h.1]
-    simp only [length_append_sub, ↓reduceIte]
-f    rw [ih v rest h.1]
-    simp only [length_append_sub, ↓reduceIte]
-     rw [ih v rest h.1]
-    simp only [length_append_sub, ↓reduceIte]
-w    rw [ih v rest h.1]
-    simp only [length_append_sub, ↓reduceIte]
-i    rw [ih v rest h.1]
-    simp only [length_append_sub, ↓reduceIte]
-t    rw [ih v rest h.1]
-    simp only [length_append_sub, ↓reduceIte]
-h    rw [ih v rest h.1]
-    simp only [length_append_sub, ↓reduceIte]
-
-    rw [ih v rest h.1]
-    simp only [length_append_sub, ↓reduceIte]
-     rw [ih v rest h.1]
-    simp only [length_append_sub, ↓reduceIte]
-     rw [ih v rest h.1]
-    simp only [length_append_sub, ↓reduceIte]
-|    rw [ih v rest h.1]
-    simp only [length_append_sub, ↓reduceIte]
-     rw [ih v rest h.1]
-    simp only [length_append_sub, ↓reduceIte]
-p    rw [ih v rest h.1]
-    simp only [length_append_sub, ↓reduceIte]
-r    rw [ih v rest h.1]
-    simp only [length_append_sub, ↓reduceIte]
-i    rw [ih v rest h.1]
-    simp only [length_append_sub, ↓reduceIte]
-m    rw [ih v rest h.1]
-    simp only [length_append_sub, ↓reduceIte]
-     rw [ih v rest h.1]
-    simp only [length_append_sub, ↓reduceIte]
-p    rw [ih v rest h.1]
-    simp only [length_append_sub, ↓reduceIte]
-     rw [ih v rest h.1]
-    simp only [length_append_sub, ↓reduceIte]
-=    rw [ih v rest h.1]
-    simp only [length_append_sub, ↓reduceIte]
->    rw [ih v rest h.1]
-    simp only [length_append_sub, ↓reduceIte]
-     rw [ih v rest h.1]
-    simp only [length_append_sub, ↓reduceIte]
-i    rw [ih v rest h.1]
-    simp only [length_append_sub, ↓reduceIte]
-n    rw [ih v rest h.1]
-    simp only [length_append_sub, ↓reduceIte]
-t    rw [ih v rest h.1]
-    simp only [length_append_sub, ↓reduceIte]
-r    rw [ih v rest h.1]
-    simp only [length_append_sub, ↓reduceIte]
-o    rw [ih v rest h.1]
-    simp only [length_append_sub, ↓reduceIte]
-     rw [ih v rest h.1]
-    simp only [length_append_sub, ↓reduceIte]
-v    rw [ih v rest h.1]
-    simp only [length_append_sub, ↓reduceIte]
-;    rw [ih v rest h.1]
-    simp only [length_append_sub, ↓reduceIte]
-     rw [ih v rest h.1]
-    simp only [length_append_sub, ↓reduceIte]
-e    rw [ih v rest h.1]
-    simp only [length_append_sub, ↓reduceIte]
-x    rw [ih v rest h.1]
-    simp only [length_append_sub, ↓reduceIte]
-a    rw [ih v rest h.1]
-    simp only [length_append_sub, ↓reduceIte]
-c    rw [ih v rest h.1]
-    simp only [length_append_sub, ↓reduceIte]
-t    rw [ih v rest h.1]
-    simp only [length_append_sub, ↓reduceIte]
-     rw [ih v rest h.1]
-    simp only [length_append_sub, ↓reduceIte]
-s    rw [ih v rest h.1]
-    simp only [length_append_sub, ↓reduceIte]
-i    rw [ih v rest h.1]
-    simp only [length_append_sub, ↓reduceIte]
-z    rw [ih v rest h.1]
-    simp only [length_append_sub, ↓reduceIte]
-e    rw [ih v rest h.1]
-    simp only [length_append_sub, ↓reduceIte]
-P    rw [ih v rest h.1]
-    simp only [length_append_sub, ↓reduceIte]
-_    rw [ih v rest h.1]
-    simp only [length_append_sub, ↓reduceIte]
-e    rw [ih v rest h.1]
-    simp only [length_append_sub, ↓reduceIte]
-q    rw [ih v rest h.1]
-    simp only [length_append_sub, ↓reduceIte]
-     rw [ih v rest h.1]
-    simp only [length_append_sub, ↓reduceIte]
-p    rw [ih v rest h.1]
-    simp only [length_append_sub, ↓reduceIte]
-     rw [ih v rest h.1]
-    simp only [length_append_sub, ↓reduceIte]
-v    rw [ih v rest h.1]
-    simp only [length_append_sub, ↓reduceIte]
-
-    rw [ih v rest h.1]
-    simp only [length_append_sub, ↓reduceIte]
-     rw [ih v rest h.1]
-    simp only [length_append_sub, ↓reduceIte]
-     rw [ih v rest h.1]
-    simp only [length_append_sub, ↓reduceIte]
-|    rw [ih v rest h.1]
-    simp only [length_append_sub, ↓reduceIte]
-     rw [ih v rest h.1]
-    simp only [length_append_sub, ↓reduceIte]
-u    rw [ih v rest h.1]
-    simp only [length_append_sub, ↓reduceIte]
-n    rw [ih v rest h.1]
-    simp only [length_append_sub, ↓reduceIte]
-i    rw [ih v rest h.1]
-    simp only [length_append_sub, ↓reduceIte]
-t    rw [ih v rest h.1]
-    simp only [length_append_sub, ↓reduceIte]
-     rw [ih v rest h.1]
-    simp only [length_append_sub, ↓reduceIte]
-=    rw [ih v rest h.1]
-    simp only [length_append_sub, ↓reduceIte]
->    rw [ih v rest h.1]
-    simp only [length_append_sub, ↓reduceIte]
-     rw [ih v rest h.1]
-    simp only [length_append_sub, ↓reduceIte]
-i    rw [ih v rest h.1]
-    simp only [length_append_sub, ↓reduceIte]
-n    rw [ih v rest h.1]
-    simp only [length_append_sub, ↓reduceIte]
-t    rw [ih v rest h.1]
-    simp only [length_append_sub, ↓reduceIte]
-r    rw [ih v rest h.1]
-    simp only [length_append_sub, ↓reduceIte]
-o    rw [ih v rest h.1]
-    simp only [length_append_sub, ↓reduceIte]
-     rw [ih v rest h.1]
-    simp only [length_append_sub, ↓reduceIte]
-v    rw [ih v rest h.1]
-    simp only [length_append_sub, ↓reduceIte]
-;    rw [ih v rest h.1]
-    simp only [length_append_sub, ↓reduceIte]
-     rw [ih v rest h.1]
-    simp only [length_append_sub, ↓reduceIte]
-r    rw [ih v rest h.1]
-    simp only [length_append_sub, ↓reduceIte]
-f    rw [ih v rest h.1]
-    simp only [length_append_sub, ↓reduceIte]
-l    rw [ih v rest h.1]
-    simp only [length_append_sub, ↓reduceIte]
-
-    rw [ih v rest h.1]
-    simp only [length_append_sub, ↓reduceIte]
-     rw [ih v rest h.1]
-    simp only [length_append_sub, ↓reduceIte]
-     rw [ih v rest h.1]
-    simp only [length_append_sub, ↓reduceIte]
-|    rw [ih v rest h.1]
-    simp only [length_append_sub, ↓reduceIte]
-     rw [ih v rest h.1]
-    simp only [length_append_sub, ↓reduceIte]
-s    rw [ih v rest h.1]
-    simp only [length_append_sub, ↓reduceIte]
-e    rw [ih v rest h.1]
-    simp only [length_append_sub, ↓reduceIte]
-q    rw [ih v rest h.1]
-    simp only [length_append_sub, ↓reduceIte]
-     rw [ih v rest h.1]
-    simp only [length_append_sub, ↓reduceIte]
-a    rw [ih v rest h.1]
-    simp only [length_append_sub, ↓reduceIte]
-     rw [ih v rest h.1]
-    simp only [length_append_sub, ↓reduceIte]
-b    rw [ih v rest h.1]
-    simp only [length_append_sub, ↓reduceIte]
-     rw [ih v rest h.1]
-    simp only [length_append_sub, ↓reduceIte]
-i    rw [ih v rest h.1]
-    simp only [length_append_sub, ↓reduceIte]
-h    rw [ih v rest h.1]
-    simp only [length_append_sub, ↓reduceIte]
-a    rw [ih v rest h.1]
-    simp only [length_append_sub, ↓reduceIte]
-     rw [ih v rest h.1]
-    simp only [length_append_sub, ↓reduceIte]
-i    rw [ih v rest h.1]
-    simp only [length_append_sub, ↓reduceIte]
-h    rw [ih v rest h.1]
-    simp only [length_append_sub, ↓reduceIte]
-b    rw [ih v rest h.1]
-    simp only [length_append_sub, ↓reduceIte]
-     rw [ih v rest h.1]
-    simp only [length_append_sub, ↓reduceIte]
-=    rw [ih v rest h.1]
-    simp only [length_append_sub, ↓reduceIte]
->    rw [ih v rest h.1]
-    simp only [length_append_sub, ↓reduceIte]
-     rw [ih v rest h.1]
-    simp only [length_append_sub, ↓reduceIte]
-i    rw [ih v rest h.1]
-    simp only [length_append_sub, ↓reduceIte]
-n    rw [ih v rest h.1]
-    simp only [length_append_sub, ↓reduceIte]
-t    rw [ih v rest h.1]
-    simp only [length_append_sub, ↓reduceIte]
-r    rw [ih v rest h.1]
-    simp only [length_append_sub, ↓reduceIte]
-o    rw [ih v rest h.1]
-    simp only [length_append_sub, ↓reduceIte]
-     rw [ih v rest h.1]
-    simp only [length_append_sub, ↓reduceIte]
-v    rw [ih v rest h.1]
-    simp only [length_append_sub, ↓reduceIte]
-;    rw [ih v rest h.1]
-    simp only [length_append_sub, ↓reduceIte]
-     rw [ih v rest h.1]
-    simp only [length_append_sub, ↓reduceIte]
-c    rw [ih v rest h.1]
-    simp only [length_append_sub, ↓reduceIte]
-a    rw [ih v rest h.1]
-    simp only [length_append_sub, ↓reduceIte]
-s    rw [ih v rest h.1]
-    simp only [length_append_sub, ↓reduceIte]
-e    rw [ih v rest h.1]
-    simp only [length_append_sub, ↓reduceIte]
-s    rw [ih v rest h.1]
-    simp only [length_append_sub, ↓reduceIte]
-     rw [ih v rest h.1]
-    simp only [length_append_sub, ↓reduceIte]
-v    rw [ih v rest h.1]
-    simp only [length_append_sub, ↓reduceIte]
-     rw [ih v rest h.1]
-    simp only [length_append_sub, ↓reduceIte]
-<    rw [ih v rest h.1]
-    simp only [length_append_sub, ↓reduceIte]
-;    rw [ih v rest h.1]
-    simp only [length_append_sub, ↓reduceIte]
->    rw [ih v rest h.1]
-    simp only [length_append_sub, ↓reduceIte]
-     rw [ih v rest h.1]
-    simp only [length_append_sub, ↓reduceIte]
-s    rw [ih v rest h.1]
-    simp only [length_append_sub, ↓reduceIte]
-i    rw [ih v rest h.1]
-    simp only [length_append_sub, ↓reduceIte]
-m    rw [ih v rest h.1]
-    simp only [length_append_sub, ↓reduceIte]
-p    rw [ih v rest h.1]
-    simp only [length_append_sub, ↓reduceIte]
-     rw [ih v rest h.1]
-    simp only [length_append_sub, ↓reduceIte]
-o    rw [ih v rest h.1]
-    simp only [length_append_sub, ↓reduceIte]
-n    rw [ih v rest h.1]
-    simp only [length_append_sub, ↓reduceIte]
-l    rw [ih v rest h.1]
-    simp only [length_append_sub, ↓reduceIte]
-y    rw [ih v rest h.1]
-    simp only [length_append_sub, ↓reduceIte]
-     rw [ih v rest h.1]
-    simp only [length_append_sub, ↓reduceIte]
-[    rw [ih v rest h.1]
-    simp only [length_append_sub, ↓reduceIte]
-s    rw [ih v rest h.1]
-    simp only [length_append_sub, ↓reduceIte]
-i    rw [ih v rest h.1]
-    simp only [length_append_sub, ↓reduceIte]
-z    rw [ih v rest h.1]
-    simp only [length_append_sub, ↓reduceIte]
-e    rw [ih v rest h.1]
-    simp only [length_append_sub, ↓reduceIte]
-,    rw [ih v rest h.1]
-    simp only [length_append_sub, ↓reduceIte]
-     rw [ih v rest h.1]
-    simp only [length_append_sub, ↓reduceIte]
-e    rw [ih v rest h.1]
-    simp only [length_append_sub, ↓reduceIte]
-n    rw [ih v rest h.1]
-    simp only [length_append_sub, ↓reduceIte]
-c    rw [ih v rest h.1]
-    simp only [length_append_sub, ↓reduceIte]
-,    rw [ih v rest h.1]
-    simp only [length_append_sub, ↓reduceIte]
-     rw [ih v rest h.1]
-    simp only [length_append_sub, ↓reduceIte]
-L    rw [ih v rest h.1]
-    simp only [length_append_sub, ↓reduceIte]
-i    rw [ih v rest h.1]
-    simp only [length_append_sub, ↓reduceIte]
-s    rw [ih v rest h.1]
-    simp only [length_append_sub, ↓reduceIte]
-t    rw [ih v rest h.1]
-    simp only [length_append_sub, ↓reduceIte]
-.    rw [ih v rest h.1]
-    simp only [length_append_sub, ↓reduceIte]
-l    rw [ih v rest h.1]
-    simp only [length_append_sub, ↓reduceIte]
-e    rw [ih v rest h.1]
-    simp only [length_append_sub, ↓reduceIte]
-n    rw [ih v rest h.1]
-    simp only [length_append_sub, ↓reduceIte]
-g    rw [ih v rest h.1]
-    simp only [length_append_sub, ↓reduceIte]
-t    rw [ih v rest h.1]
-    simp only [length_append_sub, ↓reduceIte]
-h    rw [ih v rest h.1]
-    simp only [length_append_sub, ↓reduceIte]
-_    rw [ih v rest h.1]
-    simp only [length_append_sub, ↓reduceIte]
-n    rw [ih v rest h.1]
-    simp only [length_append_sub, ↓reduceIte]
-i    rw [ih v rest h.1]
-    simp only [length_append_sub, ↓reduceIte]
-l    rw [ih v rest h.1]
-    simp only [length_append_sub, ↓reduceIte]
-,    rw [ih v rest h.1]
-    simp only [length_append_sub, ↓reduceIte]
-     rw [ih v rest h.1]
-    simp only [length_append_sub, ↓reduceIte]
-L    rw [ih v rest h.1]
-    simp only [length_append_sub, ↓reduceIte]
-i    rw [ih v rest h.1]
-    simp only [length_append_sub, ↓reduceIte]
-s    rw [ih v rest h.1]
-    simp only [length_append_sub, ↓reduceIte]
-t    rw [ih v rest h.1]
-    simp only [length_append_sub, ↓reduceIte]
-.    rw [ih v rest h.1]
-    simp only [length_append_sub, ↓reduceIte]
-l    rw [ih v rest h.1]
-    simp only [length_append_sub, ↓reduceIte]
-e    rw [ih v rest h.1]
-    simp only [length_append_sub, ↓reduceIte]
-n    rw [ih v rest h.1]
-    simp only [length_append_sub, ↓reduceIte]
-g    rw [ih v rest h.1]
-    simp only [length_append_sub, ↓reduceIte]
-t    rw [ih v rest h.1]
-    simp only [length_append_sub, ↓reduceIte]
-h    rw [ih v rest h.1]
-    simp only [length_append_sub, ↓reduceIte]
-_    rw [ih v rest h.1]
-    simp only [length_append_sub, ↓reduceIte]
-a    rw [ih v rest h.1]
-    simp only [length_append_sub, ↓reduceIte]
-p    rw [ih v rest h.1]
-    simp only [length_append_sub, ↓reduceIte]
-p    rw [ih v rest h.1]
-    simp only [length_append_sub, ↓reduceIte]
-e    rw [ih v rest h.1]
-    simp only [length_append_sub, ↓reduceIte]
-n    rw [ih v rest h.1]
-    simp only [length_append_sub, ↓reduceIte]
-d    rw [ih v rest h.1]
-    simp only [length_append_sub, ↓reduceIte]
-,    rw [ih v rest h.1]
-    simp only [length_append_sub, ↓reduceIte]
-     rw [ih v rest h.1]
-    simp only [length_append_sub, ↓reduceIte]
-i    rw [ih v rest h.1]
-    simp only [length_append_sub, ↓reduceIte]
-h    rw [ih v rest h.1]
-    simp only [length_append_sub, ↓reduceIte]
-a    rw [ih v rest h.1]
-    simp only [length_append_sub, ↓reduceIte]
-,    rw [ih v rest h.1]
-    simp only [length_append_sub, ↓reduceIte]
-     rw [ih v rest h.1]
-    simp only [length_append_sub, ↓reduceIte]
-i    rw [ih v rest h.1]
-    simp only [length_append_sub, ↓reduceIte]
-h    rw [ih v rest h.1]
-    simp only [length_append_sub, ↓reduceIte]
-b    rw [ih v rest h.1]
-    simp only [length_append_sub, ↓reduceIte]
-]    rw [ih v rest h.1]
-    simp only [length_append_sub, ↓reduceIte]
-
-    rw [ih v rest h.1]
-    simp only [length_append_sub, ↓reduceIte]
-     rw [ih v rest h.1]
-    simp only [length_append_sub, ↓reduceIte]
-     rw [ih v rest h.1]
-    simp only [length_append_sub, ↓reduceIte]
-|    rw [ih v rest h.1]
-    simp only [length_append_sub, ↓reduceIte]
-     rw [ih v rest h.1]
-    simp only [length_append_sub, ↓reduceIte]
-i    rw [ih v rest h.1]
-    simp only [length_append_sub, ↓reduceIte]
-t    rw [ih v rest h.1]
-    simp only [length_append_sub, ↓reduceIte]
-e    rw [ih v rest h.1]
-    simp only [length_append_sub, ↓reduceIte]
-     rw [ih v rest h.1]
-    simp only [length_append_sub, ↓reduceIte]
-l    rw [ih v rest h.1]
-    simp only [length_append_sub, ↓reduceIte]
-o    rw [ih v rest h.1]
-    simp only [length_append_sub, ↓reduceIte]
-     rw [ih v rest h.1]
-    simp only [length_append_sub, ↓reduceIte]
-h    rw [ih v rest h.1]
-    simp only [length_append_sub, ↓reduceIte]
-i    rw [ih v rest h.1]
-    simp only [length_append_sub, ↓reduceIte]
-     rw [ih v rest h.1]
-    simp only [length_append_sub, ↓reduceIte]
-a    rw [ih v rest h.1]
-    simp only [length_append_sub, ↓reduceIte]
-     rw [ih v rest h.1]
-    simp only [length_append_sub, ↓reduceIte]
-b    rw [ih v rest h.1]
-    simp only [length_append_sub, ↓reduceIte]
-     rw [ih v rest h.1]
-    simp only [length_append_sub, ↓reduceIte]
-i    rw [ih v rest h.1]
-    simp only [length_append_sub, ↓reduceIte]
-h    rw [ih v rest h.1]
-    simp only [length_append_sub, ↓reduceIte]
-a    rw [ih v rest h.1]
-    simp only [length_append_sub, ↓reduceIte]
-     rw [ih v rest h.1]
-    simp only [length_append_sub, ↓reduceIte]
-i    rw [ih v rest h.1]
-    simp only [length_append_sub, ↓reduceIte]
-h    rw [ih v rest h.1]
-    simp only [length_append_sub, ↓reduceIte]
-b    rw [ih v rest h.1]
-    simp only [length_append_sub, ↓reduceIte]
-     rw [ih v rest h.1]
-    simp only [length_append_sub, ↓reduceIte]
-=    rw [ih v rest h.1]
-    simp only [length_append_sub, ↓reduceIte]
->    rw [ih v rest h.1]
-    simp only [length_append_sub, ↓reduceIte]
-
-    rw [ih v rest h.1]
-    simp only [length_append_sub, ↓reduceIte]
-     rw [ih v rest h.1]
-    simp only [length_append_sub, ↓reduceIte]
-     rw [ih v rest h.1]
-    simp only [length_append_sub, ↓reduceIte]
-     rw [ih v rest h.1]
-    simp only [length_append_sub, ↓reduceIte]
-     rw [ih v rest h.1]
-    simp only [length_append_sub, ↓reduceIte]
-i    rw [ih v rest h.1]
-    simp only [length_append_sub, ↓reduceIte]
-n    rw [ih v rest h.1]
-    simp only [length_append_sub, ↓reduceIte]
-t    rw [ih v rest h.1]
-    simp only [length_append_sub, ↓reduceIte]
-r    rw [ih v rest h.1]
-    simp only [length_append_sub, ↓reduceIte]
-o    rw [ih v rest h.1]
-    simp only [length_append_sub, ↓reduceIte]
-     rw [ih v rest h.1]
-    simp only [length_append_sub, ↓reduceIte]
-v    rw [ih v rest h.1]
-    simp only [length_append_sub, ↓reduceIte]
-;    rw [ih v rest h.1]
-    simp only [length_append_sub, ↓reduceIte]
-     rw [ih v rest h.1]
-    simp only [length_append_sub, ↓reduceIte]
-s    rw [ih v rest h.1]
-    simp only [length_append_sub, ↓reduceIte]
-i    rw [ih v rest h.1]
-    simp only [length_append_sub, ↓reduceIte]
-m    rw [ih v rest h.1]
-    simp only [length_append_sub, ↓reduceIte]
-p    rw [ih v rest h.1]
-    simp only [length_append_sub, ↓reduceIte]
-     rw [ih v rest h.1]
-    simp only [length_append_sub, ↓reduceIte]
-o    rw [ih v rest h.1]
-    simp only [length_append_sub, ↓reduceIte]
-n    rw [ih v rest h.1]
-    simp only [length_append_sub, ↓reduceIte]
-l    rw [ih v rest h.1]
-    simp only [length_append_sub, ↓reduceIte]
-y    rw [ih v rest h.1]
-    simp only [length_append_sub, ↓reduceIte]
-     rw [ih v rest h.1]
-    simp only [length_append_sub, ↓reduceIte]
-[    rw [ih v rest h.1]
-    simp only [length_append_sub, ↓reduceIte]
-s    rw [ih v rest h.1]
-    simp only [length_append_sub, ↓reduceIte]
-i    rw [ih v rest h.1]
-    simp only [length_append_sub, ↓reduceIte]
-z    rw [ih v rest h.1]
-    simp only [length_append_sub, ↓reduceIte]
-e    rw [ih v rest h.1]
-    simp only [length_append_sub, ↓reduceIte]
-,    rw [ih v rest h.1]
-    simp only [length_append_sub, ↓reduceIte]
-     rw [ih v rest h.1]
-    simp only [length_append_sub, ↓reduceIte]
-e    rw [ih v rest h.1]
-    simp only [length_append_sub, ↓reduceIte]
-n    rw [ih v rest h.1]
-    simp only [length_append_sub, ↓reduceIte]
-c    rw [ih v rest h.1]
-    simp only [length_append_sub, ↓reduceIte]
-]    rw [ih v rest h.1]
-    simp only [length_append_sub, ↓reduceIte]
-;    rw [ih v rest h.1]
-    simp only [length_append_sub, ↓reduceIte]
-     rw [ih v rest h.1]
-    simp only [length_append_sub, ↓reduceIte]
-s    rw [ih v rest h.1]
-    simp only [length_append_sub, ↓reduceIte]
-p    rw [ih v rest h.1]
-    simp only [length_append_sub, ↓reduceIte]
-l    rw [ih v rest h.1]
-    simp only [length_append_sub, ↓reduceIte]
-i    rw [ih v rest h.1]
-    simp only [length_append_sub, ↓reduceIte]
-t    rw [ih v rest h.1]
-    simp only [length_append_sub, ↓reduceIte]
-
-    rw [ih v rest h.1]
-    simp only [length_append_sub, ↓reduceIte]
-     rw [ih v rest h.1]
-    simp only [length_append_sub, ↓reduceIte]
-     rw [ih v rest h.1]
-    simp only [length_append_sub, ↓reduceIte]
-     rw [ih v rest h.1]
-    simp only [length_append_sub, ↓reduceIte]
-     rw [ih v rest h.1]
-    simp only [length_append_sub, ↓reduceIte]
-·    rw [ih v rest h.1]
-    simp only [length_append_sub, ↓reduceIte]
-     rw [ih v rest h.1]
-    simp only [length_append_sub, ↓reduceIte]
-e    rw [ih v rest h.1]
-    simp only [length_append_sub, ↓reduceIte]
-x    rw [ih v rest h.1]
-    simp only [length_append_sub, ↓reduceIte]
-a    rw [ih v rest h.1]
-    simp only [length_append_sub, ↓reduceIte]
-c    rw [ih v rest h.1]
-    simp only [length_append_sub, ↓reduceIte]
-t    rw [ih v rest h.1]
-    simp only [length_append_sub, ↓reduceIte]
-     rw [ih v rest h.1]
-    simp only [length_append_sub, ↓reduceIte]
-i    rw [ih v rest h.1]
-    simp only [length_append_sub, ↓reduceIte]
-h    rw [ih v rest h.1]
-    simp only [length_append_sub, ↓reduceIte]
-a    rw [ih v rest h.1]
-    simp only [length_append_sub, ↓reduceIte]
-     rw [ih v rest h.1]
-    simp only [length_append_sub, ↓reduceIte]
-v    rw [ih v rest h.1]
-    simp only [length_append_sub, ↓reduceIte]
-
-    rw [ih v rest h.1]
-    simp only [length_append_sub, ↓reduceIte]
-     rw [ih v rest h.1]
-    simp only [length_append_sub, ↓reduceIte]
-     rw [ih v rest h.1]
-    simp only [length_append_sub, ↓reduceIte]
-     rw [ih v rest h.1]
-    simp only [length_append_sub, ↓reduceIte]
-     rw [ih v rest h.1]
-    simp only [length_append_sub, ↓reduceIte]
-·    rw [ih v rest h.1]
-    simp only [length_append_sub, ↓reduceIte]
-     rw [ih v rest h.1]
-    simp only [length_append_sub, ↓reduceIte]
-e    rw [ih v rest h.1]
-    simp only [length_append_sub, ↓reduceIte]
-x    rw [ih v rest h.1]
-    simp only [length_append_sub, ↓reduceIte]
-a    rw [ih v rest h.1]
-    simp only [length_append_sub, ↓reduceIte]
-c    rw [ih v rest h.1]
-    simp only [length_append_sub, ↓reduceIte]
-t    rw [ih v rest h.1]
-    simp only [length_append_sub, ↓reduceIte]
-     rw [ih v rest h.1]
-    simp only [length_append_sub, ↓reduceIte]
-i    rw [ih v rest h.1]
-    simp only [length_append_sub, ↓reduceIte]
-h    rw [ih v rest h.1]
-    simp only [length_append_sub, ↓reduceIte]
-b    rw [ih v rest h.1]
-    simp only [length_append_sub, ↓reduceIte]
-     rw [ih v rest h.1]
-    simp only [length_append_sub, ↓reduceIte]
-v    rw [ih v rest h.1]
-    simp only [length_append_sub, ↓reduceIte]
-
-    rw [ih v rest h.1]
-    simp only [length_append_sub, ↓reduceIte]
-     rw [ih v rest h.1]
-    simp only [length_append_sub, ↓reduceIte]
-     rw [ih v rest h.1]
-    simp only [length_append_sub, ↓reduceIte]
-|    rw [ih v rest h.1]
-    simp only [length_append_sub, ↓reduceIte]
-     rw [ih v rest h.1]
-    simp only [length_append_sub, ↓reduceIte]
-a    rw [ih v rest h.1]
-    simp only [length_append_sub, ↓reduceIte]
-r    rw [ih v rest h.1]
-    simp only [length_append_sub, ↓reduceIte]
-r    rw [ih v rest h.1]
-    simp only [length_append_sub, ↓reduceIte]
-     rw [ih v rest h.1]
-    simp only [length_append_sub, ↓reduceIte]
-c    rw [ih v rest h.1]
-    simp only [length_append_sub, ↓reduceIte]
-     rw [ih v rest h.1]
-    simp only [length_append_sub, ↓reduceIte]
-e    rw [ih v rest h.1]
-    simp only [length_append_sub, ↓reduceIte]
-     rw [ih v rest h.1]
-    simp only [length_append_sub, ↓reduceIte]
-i    rw [ih v rest h.1]
-    simp only [length_append_sub, ↓reduceIte]
-h    rw [ih v rest h.1]
-    simp only [length_append_sub, ↓reduceIte]
-     rw [ih v rest h.1]
-    simp only [length_append_sub, ↓reduceIte]
-=    rw [ih v rest h.1]
-    simp only [length_append_sub, ↓reduceIte]
->    rw [ih v rest h.1]
-    simp only [length_append_sub, ↓reduceIte]
-
-    rw [ih v rest h.1]
-    simp only [length_append_sub, ↓reduceIte]
-     rw [ih v rest h.1]
-    simp only [length_append_sub, ↓reduceIte]
-     rw [ih v rest h.1]
-    simp only [length_append_sub, ↓reduceIte]
-     rw [ih v rest h.1]
-    simp only [length_append_sub, ↓reduceIte]
-     rw [ih v rest h.1]
-    simp only [length_append_sub, ↓reduceIte]
-i    rw [ih v rest h.1]
-    simp only [length_append_sub, ↓reduceIte]
-n    rw [ih v rest h.1]
-    simp only [length_append_sub, ↓reduceIte]
-t    rw [ih v rest h.1]
-    simp only [length_append_sub, ↓reduceIte]
-r    rw [ih v rest h.1]
-    simp only [length_append_sub, ↓reduceIte]
-o    rw [ih v rest h.1]
-    simp only [length_append_sub, ↓reduceIte]
-     rw [ih v rest h.1]
-    simp only [length_append_sub, ↓reduceIte]
-v    rw [ih v rest h.1]
-    simp only [length_append_sub, ↓reduceIte]
-
-    rw [ih v rest h.1]
-    simp only [length_append_sub, ↓reduceIte]
-     rw [ih v rest h.1]
-    simp only [length_append_sub, ↓reduceIte]
-     rw [ih v rest h.1]
-    simp only [length_append_sub, ↓reduceIte]
-     rw [ih v rest h.1]
-    simp only [length_append_sub, ↓reduceIte]
-     rw [ih v rest h.1]
-    simp only [length_append_sub, ↓reduceIte]
-c    rw [ih v rest h.1]
-    simp only [length_append_sub, ↓reduceIte]
-a    rw [ih v rest h.1]
-    simp only [length_append_sub, ↓reduceIte]
-s    rw [ih v rest h.1]
-    simp only [length_append_sub, ↓reduceIte]
-e    rw [ih v rest h.1]
-    simp only [length_append_sub, ↓reduceIte]
-s    rw [ih v rest h.1]
-    simp only [length_append_sub, ↓reduceIte]
-     rw [ih v rest h.1]
-    simp only [length_append_sub, ↓reduceIte]
-v    rw [ih v rest h.1]
-    simp only [length_append_sub, ↓reduceIte]
-     rw [ih v rest h.1]
-    simp only [length_append_sub, ↓reduceIte]
-<    rw [ih v rest h.1]
-    simp only [length_append_sub, ↓reduceIte]
-;    rw [ih v rest h.1]
-    simp only [length_append_sub, ↓reduceIte]
->    rw [ih v rest h.1]
-    simp only [length_append_sub, ↓reduceIte]
-     rw [ih v rest h.1]
-    simp only [length_append_sub, ↓reduceIte]
-s    rw [ih v rest h.1]
-    simp only [length_append_sub, ↓reduceIte]
-i    rw [ih v rest h.1]
-    simp only [length_append_sub, ↓reduceIte]
-m    rw [ih v rest h.1]
-    simp only [length_append_sub, ↓reduceIte]
-p    rw [ih v rest h.1]
-    simp only [length_append_sub, ↓reduceIte]
-     rw [ih v rest h.1]
-    simp only [length_append_sub, ↓reduceIte]
-o    rw [ih v rest h.1]
-    simp only [length_append_sub, ↓reduceIte]
-n    rw [ih v rest h.1]
-    simp only [length_append_sub, ↓reduceIte]
-l    rw [ih v rest h.1]
-    simp only [length_append_sub, ↓reduceIte]
-y    rw [ih v rest h.1]
-    simp only [length_append_sub, ↓reduceIte]
-     rw [ih v rest h.1]
-    simp only [length_append_sub, ↓reduceIte]
-[    rw [ih v rest h.1]
-    simp only [length_append_sub, ↓reduceIte]
-s    rw [ih v rest h.1]
-    simp only [length_append_sub, ↓reduceIte]
-i    rw [ih v rest h.1]
-    simp only [length_append_sub, ↓reduceIte]
-z    rw [ih v rest h.1]
-    simp only [length_append_sub, ↓reduceIte]
-e    rw [ih v rest h.1]
-    simp only [length_append_sub, ↓reduceIte]
-,    rw [ih v rest h.1]
-    simp only [length_append_sub, ↓reduceIte]
-     rw [ih v rest h.1]
-    simp only [length_append_sub, ↓reduceIte]
-e    rw [ih v rest h.1]
-    simp only [length_append_sub, ↓reduceIte]
-n    rw [ih v rest h.1]
-    simp only [length_append_sub, ↓reduceIte]
-c    rw [ih v rest h.1]
-    simp only [length_append_sub, ↓reduceIte]
-,    rw [ih v rest h.1]
-    simp only [length_append_sub, ↓reduceIte]
-     rw [ih v rest h.1]
-    simp only [length_append_sub, ↓reduceIte]
-L    rw [ih v rest h.1]
-    simp only [length_append_sub, ↓reduceIte]
-i    rw [ih v rest h.1]
-    simp only [length_append_sub, ↓reduceIte]
-s    rw [ih v rest h.1]
-    simp only [length_append_sub, ↓reduceIte]
-t    rw [ih v rest h.1]
-    simp only [length_append_sub, ↓reduceIte]
-.    rw [ih v rest h.1]
-    simp only [length_append_sub, ↓reduceIte]
-l    rw [ih v rest h.1]
-    simp only [length_append_sub, ↓reduceIte]
-e    rw [ih v rest h.1]
-    simp only [length_append_sub, ↓reduceIte]
-n    rw [ih v rest h.1]
-    simp only [length_append_sub, ↓reduceIte]
-g    rw [ih v rest h.1]
-    simp only [length_append_sub, ↓reduceIte]
-t    rw [ih v rest h.1]
-    simp only [length_append_sub, ↓reduceIte]
-h    rw [ih v rest h.1]
-    simp only [length_append_sub, ↓reduceIte]
-_    rw [ih v rest h.1]
-    simp only [length_append_sub, ↓reduceIte]
-n    rw [ih v rest h.1]
-    simp only [length_append_sub, ↓reduceIte]
-i    rw [ih v rest h.1]
-    simp only [length_append_sub, ↓reduceIte]
-l    rw [ih v rest h.1]
-    simp only [length_append_sub, ↓reduceIte]
-,    rw [ih v rest h.1]
-    simp only [length_append_sub, ↓reduceIte]
-     rw [ih v rest h.1]
-    simp only [length_append_sub, ↓reduceIte]
-L    rw [ih v rest h.1]
-    simp only [length_append_sub, ↓reduceIte]
-i    rw [ih v rest h.1]
-    simp only [length_append_sub, ↓reduceIte]
-s    rw [ih v rest h.1]
-    simp only [length_append_sub, ↓reduceIte]
-t    rw [ih v rest h.1]
-    simp only [length_append_sub, ↓reduceIte]
-.    rw [ih v rest h.1]
-    simp only [length_append_sub, ↓reduceIte]
-l    rw [ih v rest h.1]
-    simp only [length_append_sub, ↓reduceIte]
-e    rw [ih v rest h.1]
-    simp only [length_append_sub, ↓reduceIte]
-n    rw [ih v rest h.1]
-    simp only [length_append_sub, ↓reduceIte]
-g    rw [ih v rest h.1]
-    simp only [length_append_sub, ↓reduceIte]
-t    rw [ih v rest h.1]
-    simp only [length_append_sub, ↓reduceIte]
-h    rw [ih v rest h.1]
-    simp only [length_append_sub, ↓reduceIte]
-_    rw [ih v rest h.1]
-    simp only [length_append_sub, ↓reduceIte]
-a    rw [ih v rest h.1]
-    simp only [length_append_sub, ↓reduceIte]
-p    rw [ih v rest h.1]
-    simp only [length_append_sub, ↓reduceIte]
-p    rw [ih v rest h.1]
-    simp only [length_append_sub, ↓reduceIte]
-e    rw [ih v rest h.1]
-    simp only [length_append_sub, ↓reduceIte]
-n    rw [ih v rest h.1]
-    simp only [length_append_sub, ↓reduceIte]
-d    rw [ih v rest h.1]
-    simp only [length_append_sub, ↓reduceIte]
-,    rw [ih v rest h.1]
-    simp only [length_append_sub, ↓reduceIte]
-     rw [ih v rest h.1]
-    simp only [length_append_sub, ↓reduceIte]
-p    rw [ih v rest h.1]
-    simp only [length_append_sub, ↓reduceIte]
-r    rw [ih v rest h.1]
-    simp only [length_append_sub, ↓reduceIte]
-e    rw [ih v rest h.1]
-    simp only [length_append_sub, ↓reduceIte]
-p    rw [ih v rest h.1]
-    simp only [length_append_sub, ↓reduceIte]
-C    rw [ih v rest h.1]
-    simp only [length_append_sub, ↓reduceIte]
-o    rw [ih v rest h.1]
-    simp only [length_append_sub, ↓reduceIte]
-u    rw [ih v rest h.1]
-    simp only [length_append_sub, ↓reduceIte]
-n    rw [ih v rest h.1]
-    simp only [length_append_sub, ↓reduceIte]
-t    rw [ih v rest h.1]
-    simp only [length_append_sub, ↓reduceIte]
-_    rw [ih v rest h.1]
-    simp only [length_append_sub, ↓reduceIte]
-e    rw [ih v rest h.1]
-    simp only [length_append_sub, ↓reduceIte]
-q    rw [ih v rest h.1]
-    simp only [length_append_sub, ↓reduceIte]
-]    rw [ih v rest h.1]
-    simp only [length_append_sub, ↓reduceIte]
-
-    rw [ih v rest h.1]
-    simp only [length_append_sub, ↓reduceIte]
-     rw [ih v rest h.1]
-    simp only [length_append_sub, ↓reduceIte]
-     rw [ih v rest h.1]
-    simp only [length_append_sub, ↓reduceIte]
-     rw [ih v rest h.1]
-    simp only [length_append_sub, ↓reduceIte]
-     rw [ih v rest h.1]
-    simp only [length_append_sub, ↓reduceIte]
-c    rw [ih v rest h.1]
-    simp only [length_append_sub, ↓reduceIte]
-a    rw [ih v rest h.1]
-    simp only [length_append_sub, ↓reduceIte]
-s    rw [ih v rest h.1]
-    simp only [length_append_sub, ↓reduceIte]
-e    rw [ih v rest h.1]
-    simp only [length_append_sub, ↓reduceIte]
-     rw [ih v rest h.1]
-    simp only [length_append_sub, ↓reduceIte]
-l    rw [ih v rest h.1]
-    simp only [length_append_sub, ↓reduceIte]
-i    rw [ih v rest h.1]
-    simp only [length_append_sub, ↓reduceIte]
-s    rw [ih v rest h.1]
-    simp only [length_append_sub, ↓reduceIte]
-t    rw [ih v rest h.1]
-    simp only [length_append_sub, ↓reduceIte]
-     rw [ih v rest h.1]
-    simp only [length_append_sub, ↓reduceIte]
-v    rw [ih v rest h.1]
-    simp only [length_append_sub, ↓reduceIte]
-s    rw [ih v rest h.1]
-    simp only [length_append_sub, ↓reduceIte]
-     rw [ih v rest h.1]
-    simp only [length_append_sub, ↓reduceIte]
-=    rw [ih v rest h.1]
-    simp only [length_append_sub, ↓reduceIte]
->    rw [ih v rest h.1]
-    simp only [length_append_sub, ↓reduceIte]
-     rw [ih v rest h.1]
-    simp only [length_append_sub, ↓reduceIte]
-r    rw [ih v rest h.1]
-    simp only [length_append_sub, ↓reduceIte]
-w    rw [ih v rest h.1]
-    simp only [length_append_sub, ↓reduceIte]
-     rw [ih v rest h.1]
-    simp only [length_append_sub, ↓reduceIte]
-[    rw [ih v rest h.1]
-    simp only [length_append_sub, ↓reduceIte]
-s    rw [ih v rest h.1]
-    simp only [length_append_sub, ↓reduceIte]
-u    rw [ih v rest h.1]
-    simp only [length_append_sub, ↓reduceIte]
-m    rw [ih v rest h.1]
-    simp only [length_append_sub, ↓reduceIte]
-_    rw [ih v rest h.1]
-    simp only [length_append_sub, ↓reduceIte]
-m    rw [ih v rest h.1]
-    simp only [length_append_sub, ↓reduceIte]
-a    rw [ih v rest h.1]
-    simp only [length_append_sub, ↓reduceIte]
-p    rw [ih v rest h.1]
-    simp only [length_append_sub, ↓reduceIte]
-_    rw [ih v rest h.1]
-    simp only [length_append_sub, ↓reduceIte]
-l    rw [ih v rest h.1]
-    simp only [length_append_sub, ↓reduceIte]
-e    rw [ih v rest h.1]
-    simp only [length_append_sub, ↓reduceIte]
-n    rw [ih v rest h.1]
-    simp only [length_append_sub, ↓reduceIte]
-g    rw [ih v rest h.1]
-    simp only [length_append_sub, ↓reduceIte]
-t    rw [ih v rest h.1]
-    simp only [length_append_sub, ↓reduceIte]
-h    rw [ih v rest h.1]
-    simp only [length_append_sub, ↓reduceIte]
-_    rw [ih v rest h.1]
-    simp only [length_append_sub, ↓reduceIte]
-f    rw [ih v rest h.1]
-    simp only [length_append_sub, ↓reduceIte]
-l    rw [ih v rest h.1]
-    simp only [length_append_sub, ↓reduceIte]
-a    rw [ih v rest h.1]
-    simp only [length_append_sub, ↓reduceIte]
-t    rw [ih v rest h.1]
-    simp only [length_append_sub, ↓reduceIte]
-t    rw [ih v rest h.1]
-    simp only [length_append_sub, ↓reduceIte]
-e    rw [ih v rest h.1]
-    simp only [length_append_sub, ↓reduceIte]
-n    rw [ih v rest h.1]
-    simp only [length_append_sub, ↓reduceIte]
-     rw [ih v rest h.1]
-    simp only [length_append_sub, ↓reduceIte]
-(    rw [ih v rest h.1]
-    simp only [length_append_sub, ↓reduceIte]
-e    rw [ih v rest h.1]
-    simp only [length_append_sub, ↓reduceIte]
-n    rw [ih v rest h.1]
-    simp only [length_append_sub, ↓reduceIte]
-c    rw [ih v rest h.1]
-    simp only [length_append_sub, ↓reduceIte]
-     rw [ih v rest h.1]
-    simp only [length_append_sub, ↓reduceIte]
-e    rw [ih v rest h.1]
-    simp only [length_append_sub, ↓reduceIte]
-     rw [ih v rest h.1]
-    simp only [length_append_sub, ↓reduceIte]
-v    rw [ih v rest h.1]
-    simp only [length_append_sub, ↓reduceIte]
-e    rw [ih v rest h.1]
-    simp only [length_append_sub, ↓reduceIte]
-r    rw [ih v rest h.1]
-    simp only [length_append_sub, ↓reduceIte]
-)    rw [ih v rest h.1]
-    simp only [length_append_sub, ↓reduceIte]
-     rw [ih v rest h.1]
-    simp only [length_append_sub, ↓reduceIte]
-(    rw [ih v rest h.1]
-    simp only [length_append_sub, ↓reduceIte]
-s    rw [ih v rest h.1]
-    simp only [length_append_sub, ↓reduceIte]
-i    rw [ih v rest h.1]
-    simp only [length_append_sub, ↓reduceIte]
-z    rw [ih v rest h.1]
-    simp only [length_append_sub, ↓reduceIte]
-e    rw [ih v rest h.1]
-    simp only [length_append_sub, ↓reduceIte]
-     rw [ih v rest h.1]
-    simp only [length_append_sub, ↓reduceIte]
-e    rw [ih v rest h.1]
-    simp only [length_append_sub, ↓reduceIte]
-     rw [ih v rest h.1]
-    simp only [length_append_sub, ↓reduceIte]
-v    rw [ih v rest h.1]
-    simp only [length_append_sub, ↓reduceIte]
-e    rw [ih v rest h.1]
-    simp only [length_append_sub, ↓reduceIte]
-r    rw [ih v rest h.1]
-    simp only [length_append_sub, ↓reduceIte]
-)    rw [ih v rest h.1]
-    simp only [length_append_sub, ↓reduceIte]
-     rw [ih v rest h.1]
-    simp only [length_append_sub, ↓reduceIte]
-v    rw [ih v rest h.1]
-    simp only [length_append_sub, ↓reduceIte]
-s    rw [ih v rest h.1]
-    simp only [length_append_sub, ↓reduceIte]
-     rw [ih v rest h.1]
-    simp only [length_append_sub, ↓reduceIte]
-i    rw [ih v rest h.1]
-    simp only [length_append_sub, ↓reduceIte]
-h    rw [ih v rest h.1]
-    simp only [length_append_sub, ↓reduceIte]
-]    rw [ih v rest h.1]
-    simp only [length_append_sub, ↓reduceIte]
-
-    rw [ih v rest h.1]
-    simp only [length_append_sub, ↓reduceIte]
-     rw [ih v rest h.1]
-    simp only [length_append_sub, ↓reduceIte]
-     rw [ih v rest h.1]
-    simp only [length_append_sub, ↓reduceIte]
-|    rw [ih v rest h.1]
-    simp only [length_append_sub, ↓reduceIte]
-     rw [ih v rest h.1]
-    simp only [length_append_sub, ↓reduceIte]
-l    rw [ih v rest h.1]
-    simp only [length_append_sub, ↓reduceIte]
-e    rw [ih v rest h.1]
-    simp only [length_append_sub, ↓reduceIte]
-n    rw [ih v rest h.1]
-    simp only [length_append_sub, ↓reduceIte]
-3    rw [ih v rest h.1]
-    simp only [length_append_sub, ↓reduceIte]
-2    rw [ih v rest h.1]
-    simp only [length_append_sub, ↓reduceIte]
-     rw [ih v rest h.1]
-    simp only [length_append_sub, ↓reduceIte]
-f    rw [ih v rest h.1]
-    simp only [length_append_sub, ↓reduceIte]
-     rw [ih v rest h.1]
-    simp only [length_append_sub, ↓reduceIte]
-i    rw [ih v rest h.1]
-    simp only [length_append_sub, ↓reduceIte]
-h    rw [ih v rest h.1]
-    simp only [length_append_sub, ↓reduceIte]
-     rw [ih v rest h.1]
-    simp only [length_append_sub, ↓reduceIte]
-=    rw [ih v rest h.1]
-    simp only [length_append_sub, ↓reduceIte]
->    rw [ih v rest h.1]
-    simp only [length_append_sub, ↓reduceIte]
-     rw [ih v rest h.1]
-    simp only [length_append_sub, ↓reduceIte]
-i    rw [ih v rest h.1]
-    simp only [length_append_sub, ↓reduceIte]
-n    rw [ih v rest h.1]
-    simp only [length_append_sub, ↓reduceIte]
-t    rw [ih v rest h.1]
-    simp only [length_append_sub, ↓reduceIte]
-r    rw [ih v rest h.1]
-    simp only [length_append_sub, ↓reduceIte]
-o    rw [ih v rest h.1]
-    simp only [length_append_sub, ↓reduceIte]
-     rw [ih v rest h.1]
-    simp only [length_append_sub, ↓reduceIte]
-v    rw [ih v rest h.1]
-    simp only [length_append_sub, ↓reduceIte]
-;    rw [ih v rest h.1]
-    simp only [length_append_sub, ↓reduceIte]
-     rw [ih v rest h.1]
-    simp only [length_append_sub, ↓reduceIte]
-s    rw [ih v rest h.1]
-    simp only [length_append_sub, ↓reduceIte]
-i    rw [ih v rest h.1]
-    simp only [length_append_sub, ↓reduceIte]
-m    rw [ih v rest h.1]
-    simp only [length_append_sub, ↓reduceIte]
-p    rw [ih v rest h.1]
-    simp only [length_append_sub, ↓reduceIte]
-     rw [ih v rest h.1]
-    simp only [length_append_sub, ↓reduceIte]
-o    rw [ih v rest h.1]
-    simp only [length_append_sub, ↓reduceIte]
-n    rw [ih v rest h.1]
-    simp only [length_append_sub, ↓reduceIte]
-l    rw [ih v rest h.1]
-    simp only [length_append_sub, ↓reduceIte]
-y    rw [ih v rest h.1]
-    simp only [length_append_sub, ↓reduceIte]
-     rw [ih v rest h.1]
-    simp only [length_append_sub, ↓reduceIte]
-[    rw [ih v rest h.1]
-    simp only [length_append_sub, ↓reduceIte]
-s    rw [ih v rest h.1]
-    simp only [length_append_sub, ↓reduceIte]
-i    rw [ih v rest h.1]
-    simp only [length_append_sub, ↓reduceIte]
-z    rw [ih v rest h.1]
-    simp only [length_append_sub, ↓reduceIte]
-e    rw [ih v rest h.1]
-    simp only [length_append_sub, ↓reduceIte]
-,    rw [ih v rest h.1]
-    simp only [length_append_sub, ↓reduceIte]
-     rw [ih v rest h.1]
-    simp only [length_append_sub, ↓reduceIte]
-e    rw [ih v rest h.1]
-    simp only [length_append_sub, ↓reduceIte]
-n    rw [ih v rest h.1]
-    simp only [length_append_sub, ↓reduceIte]
-c    rw [ih v rest h.1]
-    simp only [length_append_sub, ↓reduceIte]
-,    rw [ih v rest h.1]
-    simp only [length_append_sub, ↓reduceIte]
-     rw [ih v rest h.1]
-    simp only [length_append_sub, ↓reduceIte]
-p    rw [ih v rest h.1]
-    simp only [length_append_sub, ↓reduceIte]
-u    rw [ih v rest h.1]
-    simp only [length_append_sub, ↓reduceIte]
-t    rw [ih v rest h.1]
-    simp only [length_append_sub, ↓reduceIte]
-L    rw [ih v rest h.1]
-    simp only [length_append_sub, ↓reduceIte]
-e    rw [ih v rest h.1]
-    simp only [length_append_sub, ↓reduceIte]
-n    rw [ih v rest h.1]
-    simp only [length_append_sub, ↓reduceIte]
-3    rw [ih v rest h.1]
-    simp only [length_append_sub, ↓reduceIte]
-2    rw [ih v rest h.1]
-    simp only [length_append_sub, ↓reduceIte]
-,    rw [ih v rest h.1]
-    simp only [length_append_sub, ↓reduceIte]
-     rw [ih v rest h.1]
-    simp only [length_append_sub, ↓reduceIte]
-L    rw [ih v rest h.1]
-    simp only [length_append_sub, ↓reduceIte]
-i    rw [ih v rest h.1]
-    simp only [length_append_sub, ↓reduceIte]
-s    rw [ih v rest h.1]
-    simp only [length_append_sub, ↓reduceIte]
-t    rw [ih v rest h.1]
-    simp only [length_append_sub, ↓reduceIte]
-.    rw [ih v rest h.1]
-    simp only [length_append_sub, ↓reduceIte]
-l    rw [ih v rest h.1]
-    simp only [length_append_sub, ↓reduceIte]
-e    rw [ih v rest h.1]
-    simp only [length_append_sub, ↓reduceIte]
-n    rw [ih v rest h.1]
-    simp only [length_append_sub, ↓reduceIte]
-g    rw [ih v rest h.1]
-    simp only [length_append_sub, ↓reduceIte]
-t    rw [ih v rest h.1]
-    simp only [length_append_sub, ↓reduceIte]
-h    rw [ih v rest h.1]
-    simp only [length_append_sub, ↓reduceIte]
-_    rw [ih v rest h.1]
-    simp only [length_append_sub, ↓reduceIte]
-a    rw [ih v rest h.1]
-    simp only [length_append_sub, ↓reduceIte]
-p    rw [ih v rest h.1]
-    simp only [length_append_sub, ↓reduceIte]
-p    rw [ih v rest h.1]
-    simp only [length_append_sub, ↓reduceIte]
-e    rw [ih v rest h.1]
-    simp only [length_append_sub, ↓reduceIte]
-n    rw [ih v rest h.1]
-    simp only [length_append_sub, ↓reduceIte]
-d    rw [ih v rest h.1]
-    simp only [length_append_sub, ↓reduceIte]
-,    rw [ih v rest h.1]
-    simp only [length_append_sub, ↓reduceIte]
-     rw [ih v rest h.1]
-    simp only [length_append_sub, ↓reduceIte]
-p    rw [ih v rest h.1]
-    simp only [length_append_sub, ↓reduceIte]
-u    rw [ih v rest h.1]
-    simp only [length_append_sub, ↓reduceIte]
-t    rw [ih v rest h.1]
-    simp only [length_append_sub, ↓reduceIte]
-I    rw [ih v rest h.1]
-    simp only [length_append_sub, ↓reduceIte]
-n    rw [ih v rest h.1]
-    simp only [length_append_sub, ↓reduceIte]
-t    rw [ih v rest h.1]
-    simp only [length_append_sub, ↓reduceIte]
-_    rw [ih v rest h.1]
-    simp only [length_append_sub, ↓reduceIte]
-l    rw [ih v rest h.1]
-    simp only [length_append_sub, ↓reduceIte]
-e    rw [ih v rest h.1]
-    simp only [length_append_sub, ↓reduceIte]
-n    rw [ih v rest h.1]
-    simp only [length_append_sub, ↓reduceIte]
-g    rw [ih v rest h.1]
-    simp only [length_append_sub, ↓reduceIte]
-t    rw [ih v rest h.1]
-    simp only [length_append_sub, ↓reduceIte]
-h    rw [ih v rest h.1]
-    simp only [length_append_sub, ↓reduceIte]
-,    rw [ih v rest h.1]
-    simp only [length_append_sub, ↓reduceIte]
-     rw [ih v rest h.1]
-    simp only [length_append_sub, ↓reduceIte]
-i    rw [ih v rest h.1]
-    simp only [length_append_sub, ↓reduceIte]
-h    rw [ih v rest h.1]
-    simp only [length_append_sub, ↓reduceIte]
-]    rw [ih v rest h.1]
-    simp only [length_append_sub, ↓reduceIte]
-
-    rw [ih v rest h.1]
-    simp only [length_append_sub, ↓reduceIte]
-     rw [ih v rest h.1]
-    simp only [length_append_sub, ↓reduceIte]
-     rw [ih v rest h.1]
-    simp only [length_append_sub, ↓reduceIte]
-|    rw [ih v rest h.1]
-    simp only [length_append_sub, ↓reduceIte]
-     rw [ih v rest h.1]
-    simp only [length_append_sub, ↓reduceIte]
-v    rw [ih v rest h.1]
-    simp only [length_append_sub, ↓reduceIte]
-a    rw [ih v rest h.1]
-    simp only [length_append_sub, ↓reduceIte]
-r    rw [ih v rest h.1]
-    simp only [length_append_sub, ↓reduceIte]
-l    rw [ih v rest h.1]
-    simp only [length_append_sub, ↓reduceIte]
-e    rw [ih v rest h.1]
-    simp only [length_append_sub, ↓reduceIte]
-n    rw [ih v rest h.1]
-    simp only [length_append_sub, ↓reduceIte]
-     rw [ih v rest h.1]
-    simp only [length_append_sub, ↓reduceIte]
-f    rw [ih v rest h.1]
-    simp only [length_append_sub, ↓reduceIte]
-     rw [ih v rest h.1]
-    simp only [length_append_sub, ↓reduceIte]
-i    rw [ih v rest h.1]
-    simp only [length_append_sub, ↓reduceIte]
-h    rw [ih v rest h.1]
-    simp only [length_append_sub, ↓reduceIte]
-     rw [ih v rest h.1]
-    simp only [length_append_sub, ↓reduceIte]
-=    rw [ih v rest h.1]
-    simp only [length_append_sub, ↓reduceIte]
->    rw [ih v rest h.1]
-    simp only [length_append_sub, ↓reduceIte]
-     rw [ih v rest h.1]
-    simp only [length_append_sub, ↓reduceIte]
-i    rw [ih v rest h.1]
-    simp only [length_append_sub, ↓reduceIte]
-n    rw [ih v rest h.1]
-    simp only [length_append_sub, ↓reduceIte]
-t    rw [ih v rest h.1]
-    simp only [length_append_sub, ↓reduceIte]
-r    rw [ih v rest h.1]
-    simp only [length_append_sub, ↓reduceIte]
-o    rw [ih v rest h.1]
-    simp only [length_append_sub, ↓reduceIte]
-     rw [ih v rest h.1]
-    simp only [length_append_sub, ↓reduceIte]
-v    rw [ih v rest h.1]
-    simp only [length_append_sub, ↓reduceIte]
-;    rw [ih v rest h.1]
-    simp only [length_append_sub, ↓reduceIte]
-     rw [ih v rest h.1]
-    simp only [length_append_sub, ↓reduceIte]
-s    rw [ih v rest h.1]
-    simp only [length_append_sub, ↓reduceIte]
-i    rw [ih v rest h.1]
-    simp only [length_append_sub, ↓reduceIte]
-m    rw [ih v rest h.1]
-    simp only [length_append_sub, ↓reduceIte]
-p    rw [ih v rest h.1]
-    simp only [length_append_sub, ↓reduceIte]
-     rw [ih v rest h.1]
-    simp only [length_append_sub, ↓reduceIte]
-o    rw [ih v rest h.1]
-    simp only [length_append_sub, ↓reduceIte]
-n    rw [ih v rest h.1]
-    simp only [length_append_sub, ↓reduceIte]
-l    rw [ih v rest h.1]
-    simp only [length_append_sub, ↓reduceIte]
-y    rw [ih v rest h.1]
-    simp only [length_append_sub, ↓reduceIte]
-     rw [ih v rest h.1]
-    simp only [length_append_sub, ↓reduceIte]
-[    rw [ih v rest h.1]
-    simp only [length_append_sub, ↓reduceIte]
-s    rw [ih v rest h.1]
-    simp only [length_append_sub, ↓reduceIte]
-i    rw [ih v rest h.1]
-    simp only [length_append_sub, ↓reduceIte]
-z    rw [ih v rest h.1]
-    simp only [length_append_sub, ↓reduceIte]
-e    rw [ih v rest h.1]
-    simp only [length_append_sub, ↓reduceIte]
-,    rw [ih v rest h.1]
-    simp only [length_append_sub, ↓reduceIte]
-     rw [ih v rest h.1]
-    simp only [length_append_sub, ↓reduceIte]
-e    rw [ih v rest h.1]
-    simp only [length_append_sub, ↓reduceIte]
-n    rw [ih v rest h.1]
-    simp only [length_append_sub, ↓reduceIte]
-c    rw [ih v rest h.1]
-    simp only [length_append_sub, ↓reduceIte]
-,    rw [ih v rest h.1]
-    simp only [length_append_sub, ↓reduceIte]
-     rw [ih v rest h.1]
-    simp only [length_append_sub, ↓reduceIte]
-p    rw [ih v rest h.1]
-    simp only [length_append_sub, ↓reduceIte]
-u    rw [ih v rest h.1]
-    simp only [length_append_sub, ↓reduceIte]
-t    rw [ih v rest h.1]
-    simp only [length_append_sub, ↓reduceIte]
-V    rw [ih v rest h.1]
-    simp only [length_append_sub, ↓reduceIte]
-a    rw [ih v rest h.1]
-    simp only [length_append_sub, ↓reduceIte]
-r    rw [ih v rest h.1]
-    simp only [length_append_sub, ↓reduceIte]
-L    rw [ih v rest h.1]
-    simp only [length_append_sub, ↓reduceIte]
-e    rw [ih v rest h.1]
-    simp only [length_append_sub, ↓reduceIte]
-n    rw [ih v rest h.1]
-    simp only [length_append_sub, ↓reduceIte]
-,    rw [ih v rest h.1]
-    simp only [length_append_sub, ↓reduceIte]
-     rw [ih v rest h.1]
-    simp only [length_append_sub, ↓reduceIte]
-L    rw [ih v rest h.1]
-    simp only [length_append_sub, ↓reduceIte]
-i    rw [ih v rest h.1]
-    simp only [length_append_sub, ↓reduceIte]
-s    rw [ih v rest h.1]
-    simp only [length_append_sub, ↓reduceIte]
-t    rw [ih v rest h.1]
-    simp only [length_append_sub, ↓reduceIte]
-.    rw [ih v rest h.1]
-    simp only [length_append_sub, ↓reduceIte]
-l    rw [ih v rest h.1]
-    simp only [length_append_sub, ↓reduceIte]
-e    rw [ih v rest h.1]
-    simp only [length_append_sub, ↓reduceIte]
-n    rw [ih v rest h.1]
-    simp only [length_append_sub, ↓reduceIte]
-g    rw [ih v rest h.1]
-    simp only [length_append_sub, ↓reduceIte]
-t    rw [ih v rest h.1]
-    simp only [length_append_sub, ↓reduceIte]
-h    rw [ih v rest h.1]
-    simp only [length_append_sub, ↓reduceIte]
-_    rw [ih v rest h.1]
-    simp only [length_append_sub, ↓reduceIte]
-a    rw [ih v rest h.1]
-    simp only [length_append_sub, ↓reduceIte]
-p    rw [ih v rest h.1]
-    simp only [length_append_sub, ↓reduceIte]
-p    rw [ih v rest h.1]
-    simp only [length_append_sub, ↓reduceIte]
-e    rw [ih v rest h.1]
-    simp only [length_append_sub, ↓reduceIte]
-n    rw [ih v rest h.1]
-    simp only [length_append_sub, ↓reduceIte]
-d    rw [ih v rest h.1]
-    simp only [length_append_sub, ↓reduceIte]
-,    rw [ih v rest h.1]
-    simp only [length_append_sub, ↓reduceIte]
-     rw [ih v rest h.1]
-    simp only [length_append_sub, ↓reduceIte]
-p    rw [ih v rest h.1]
-    simp only [length_append_sub, ↓reduceIte]
-r    rw [ih v rest h.1]
-    simp only [length_append_sub, ↓reduceIte]
-e    rw [ih v rest h.1]
-    simp only [length_append_sub, ↓reduceIte]
-p    rw [ih v rest h.1]
-    simp only [length_append_sub, ↓reduceIte]
-V    rw [ih v rest h.1]
-    simp only [length_append_sub, ↓reduceIte]
-a    rw [ih v rest h.1]
-    simp only [length_append_sub, ↓reduceIte]
-r    rw [ih v rest h.1]
-    simp only [length_append_sub, ↓reduceIte]
-i    rw [ih v rest h.1]
-    simp only [length_append_sub, ↓reduceIte]
-n    rw [ih v rest h.1]
-    simp only [length_append_sub, ↓reduceIte]
-t    rw [ih v rest h.1]
-    simp only [length_append_sub, ↓reduceIte]
-,    rw [ih v rest h.1]
-    simp only [length_append_sub, ↓reduceIte]
-     rw [ih v rest h.1]
-    simp only [length_append_sub, ↓reduceIte]
-i    rw [ih v rest h.1]
-    simp only [length_append_sub, ↓reduceIte]
-h    rw [ih v rest h.1]
-    simp only [length_append_sub, ↓reduceIte]
-]    rw [ih v rest h.1]
-    simp only [length_append_sub, ↓reduceIte]
-
-    rw [ih v rest h.1]
-    simp only [length_append_sub, ↓reduceIte]
-     rw [ih v rest h.1]
-    simp only [length_append_sub, ↓reduceIte]
-     rw [ih v rest h.1]
-    simp only [length_append_sub, ↓reduceIte]
-|    rw [ih v rest h.1]
-    simp only [length_append_sub, ↓reduceIte]
-     rw [ih v rest h.1]
-    simp only [length_append_sub, ↓reduceIte]
-c    rw [ih v rest h.1]
-    simp only [length_append_sub, ↓reduceIte]
-r    rw [ih v rest h.1]
-    simp only [length_append_sub, ↓reduceIte]
-c    rw [ih v rest h.1]
-    simp only [length_append_sub, ↓reduceIte]
-     rw [ih v rest h.1]
-    simp only [length_append_sub, ↓reduceIte]
-p    rw [ih v rest h.1]
-    simp only [length_append_sub, ↓reduceIte]
-     rw [ih v rest h.1]
-    simp only [length_append_sub, ↓reduceIte]
-f    rw [ih v rest h.1]
-    simp only [length_append_sub, ↓reduceIte]
-     rw [ih v rest h.1]
-    simp only [length_append_sub, ↓reduceIte]
-i    rw [ih v rest h.1]
-    simp only [length_append_sub, ↓reduceIte]
-h    rw [ih v rest h.1]
-    simp only [length_append_sub, ↓reduceIte]
-     rw [ih v rest h.1]
-    simp only [length_append_sub, ↓reduceIte]
-=    rw [ih v rest h.1]
-    simp only [length_append_sub, ↓reduceIte]
->    rw [ih v rest h.1]
-    simp only [length_append_sub, ↓reduceIte]
-     rw [ih v rest h.1]
-    simp only [length_append_sub, ↓reduceIte]
-i    rw [ih v rest h.1]
-    simp only [length_append_sub, ↓reduceIte]
-n    rw [ih v rest h.1]
-    simp only [length_append_sub, ↓reduceIte]
-t    rw [ih v rest h.1]
-    simp only [length_append_sub, ↓reduceIte]
-r    rw [ih v rest h.1]
-    simp only [length_append_sub, ↓reduceIte]
-o    rw [ih v rest h.1]
-    simp only [length_append_sub, ↓reduceIte]
-     rw [ih v rest h.1]
-    simp only [length_append_sub, ↓reduceIte]
-v    rw [ih v rest h.1]
-    simp only [length_append_sub, ↓reduceIte]
-;    rw [ih v rest h.1]
-    simp only [length_append_sub, ↓reduceIte]
-     rw [ih v rest h.1]
-    simp only [length_append_sub, ↓reduceIte]
-s    rw [ih v rest h.1]
-    simp only [length_append_sub, ↓reduceIte]
-i    rw [ih v rest h.1]
-    simp only [length_append_sub, ↓reduceIte]
-m    rw [ih v rest h.1]
-    simp only [length_append_sub, ↓reduceIte]
-p    rw [ih v rest h.1]
-    simp only [length_append_sub, ↓reduceIte]
-     rw [ih v rest h.1]
-    simp only [length_append_sub, ↓reduceIte]
-o    rw [ih v rest h.1]
-    simp only [length_append_sub, ↓reduceIte]
-n    rw [ih v rest h.1]
-    simp only [length_append_sub, ↓reduceIte]
-l    rw [ih v rest h.1]
-    simp only [length_append_sub, ↓reduceIte]
-y    rw [ih v rest h.1]
-    simp only [length_append_sub, ↓reduceIte]
-     rw [ih v rest h.1]
-    simp only [length_append_sub, ↓reduceIte]
-[    rw [ih v rest h.1]
-    simp only [length_append_sub, ↓reduceIte]
-s    rw [ih v rest h.1]
-    simp only [length_append_sub, ↓reduceIte]
-i    rw [ih v rest h.1]
-    simp only [length_append_sub, ↓reduceIte]
-z    rw [ih v rest h.1]
-    simp only [length_append_sub, ↓reduceIte]
-e    rw [ih v rest h.1]
-    simp only [length_append_sub, ↓reduceIte]
-,    rw [ih v rest h.1]
-    simp only [length_append_sub, ↓reduceIte]
-     rw [ih v rest h.1]
-    simp only [length_append_sub, ↓reduceIte]
-e    rw [ih v rest h.1]
-    simp only [length_append_sub, ↓reduceIte]
-n    rw [ih v rest h.1]
-    simp only [length_append_sub, ↓reduceIte]
-c    rw [ih v rest h.1]
-    simp only [length_append_sub, ↓reduceIte]
-,    rw [ih v rest h.1]
-    simp only [length_append_sub, ↓reduceIte]
-     rw [ih v rest h.1]
-    simp only [length_append_sub, ↓reduceIte]
-p    rw [ih v rest h.1]
-    simp only [length_append_sub, ↓reduceIte]
-u    rw [ih v rest h.1]
-    simp only [length_append_sub, ↓reduceIte]
-t    rw [ih v rest h.1]
-    simp only [length_append_sub, ↓reduceIte]
-C    rw [ih v rest h.1]
-    simp only [length_append_sub, ↓reduceIte]
-r    rw [ih v rest h.1]
-    simp only [length_append_sub, ↓reduceIte]
-c    rw [ih v rest h.1]
-    simp only [length_append_sub, ↓reduceIte]
-,    rw [ih v rest h.1]
-    simp only [length_append_sub, ↓reduceIte]
-     rw [ih v rest h.1]
-    simp only [length_append_sub, ↓reduceIte]
-L    rw [ih v rest h.1]
-    simp only [length_append_sub, ↓reduceIte]
-i    rw [ih v rest h.1]
-    simp only [length_append_sub, ↓reduceIte]
-s    rw [ih v rest h.1]
-    simp only [length_append_sub, ↓reduceIte]
-t    rw [ih v rest h.1]
-    simp only [length_append_sub, ↓reduceIte]
-.    rw [ih v rest h.1]
-    simp only [length_append_sub, ↓reduceIte]
-l    rw [ih v rest h.1]
-    simp only [length_append_sub, ↓reduceIte]
-e    rw [ih v rest h.1]
-    simp only [length_append_sub, ↓reduceIte]
-n    rw [ih v rest h.1]
-    simp only [length_append_sub, ↓reduceIte]
-g    rw [ih v rest h.1]
-    simp only [length_append_sub, ↓reduceIte]
-t    rw [ih v rest h.1]
-    simp only [length_append_sub, ↓reduceIte]
-h    rw [ih v rest h.1]
-    simp only [length_append_sub, ↓reduceIte]
-_    rw [ih v rest h.1]
-    simp only [length_append_sub, ↓reduceIte]
-a    rw [ih v rest h.1]
-    simp only [length_append_sub, ↓reduceIte]
-p    rw [ih v rest h.1]
-    simp only [length_append_sub, ↓reduceIte]
-p    rw [ih v rest h.1]
-    simp only [length_append_sub, ↓reduceIte]
-e    rw [ih v rest h.1]
-    simp only [length_append_sub, ↓reduceIte]
-n    rw [ih v rest h.1]
-    simp only [length_append_sub, ↓reduceIte]
-d    rw [ih v rest h.1]
-    simp only [length_append_sub, ↓reduceIte]
-,    rw [ih v rest h.1]
-    simp only [length_append_sub, ↓reduceIte]
-     rw [ih v rest h.1]
-    simp only [length_append_sub, ↓reduceIte]
-b    rw [ih v rest h.1]
-    simp only [length_append_sub, ↓reduceIte]
-e    rw [ih v rest h.1]
-    simp only [length_append_sub, ↓reduceIte]
-_    rw [ih v rest h.1]
-    simp only [length_append_sub, ↓reduceIte]
-l    rw [ih v rest h.1]
-    simp only [length_append_sub, ↓reduceIte]
-e    rw [ih v rest h.1]
-    simp only [length_append_sub, ↓reduceIte]
-n    rw [ih v rest h.1]
-    simp only [length_append_sub, ↓reduceIte]
-g    rw [ih v rest h.1]
-    simp only [length_append_sub, ↓reduceIte]
-t    rw [ih v rest h.1]
-    simp only [length_append_sub, ↓reduceIte]
-h    rw [ih v rest h.1]
-    simp only [length_append_sub, ↓reduceIte]
-,    rw [ih v rest h.1]
-    simp only [length_append_sub, ↓reduceIte]
-     rw [ih v rest h.1]
-    simp only [length_append_sub, ↓reduceIte]
-i    rw [ih v rest h.1]
-    simp only [length_append_sub, ↓reduceIte]
-h    rw [ih v rest h.1]
-    simp only [length_append_sub, ↓reduceIte]
-]    rw [ih v rest h.1]
-    simp only [length_append_sub, ↓reduceIte]
-
-    rw [ih v rest h.1]
-    simp only [length_append_sub, ↓reduceIte]
-
-    rw [ih v rest h.1]
-    simp only [length_append_sub, ↓reduceIte]
-t    rw [ih v rest h.1]
-    simp only [length_append_sub, ↓reduceIte]
-h    rw [ih v rest h.1]
-    simp only [length_append_sub, ↓reduceIte]
-e    rw [ih v rest h.1]
-    simp only [length_append_sub, ↓reduceIte]
-o    rw [ih v rest h.1]
-    simp only [length_append_sub, ↓reduceIte]
-r    rw [ih v rest h.1]
-    simp only [length_append_sub, ↓reduceIte]
-e    rw [ih v rest h.1]
-    simp only [length_append_sub, ↓reduceIte]
-m    rw [ih v rest h.1]
-    simp only [length_append_sub, ↓reduceIte]
-     rw [ih v rest h.1]
-    simp only [length_append_sub, ↓reduceIte]
-a    rw [ih v rest h.1]
-    simp only [length_append_sub, ↓reduceIte]
-l    rw [ih v rest h.1]
-    simp only [length_append_sub, ↓reduceIte]
-l    rw [ih v rest h.1]
-    simp only [length_append_sub, ↓reduceIte]
-W    rw [ih v rest h.1]
-    simp only [length_append_sub, ↓reduceIte]
-T    rw [ih v rest h.1]
-    simp only [length_append_sub, ↓reduceIte]
-_    rw [ih v rest h.1]
-    simp only [length_append_sub, ↓reduceIte]
-s    rw [ih v rest h.1]
-    simp only [length_append_sub, ↓reduceIte]
-p    rw [ih v rest h.1]
-    simp only [length_append_sub, ↓reduceIte]
-e    rw [ih v rest h.1]
-    simp only [length_append_sub, ↓reduceIte]
-c    rw [ih v rest h.1]
-    simp only [length_append_sub, ↓reduceIte]
-     rw [ih v rest h.1]
-    simp only [length_append_sub, ↓reduceIte]
-(    rw [ih v rest h.1]
-    simp only [length_append_sub, ↓reduceIte]
-w    rw [ih v rest h.1]
-    simp only [length_append_sub, ↓reduceIte]
-     rw [ih v rest h.1]
-    simp only [length_append_sub, ↓reduceIte]
-:    rw [ih v rest h.1]
-    simp only [length_append_sub, ↓reduceIte]
-     rw [ih v rest h.1]
-    simp only [length_append_sub, ↓reduceIte]
-V    rw [ih v rest h.1]
-    simp only [length_append_sub, ↓reduceIte]
-a    rw [ih v rest h.1]
-    simp only [length_append_sub, ↓reduceIte]
-l    rw [ih v rest h.1]
-    simp only [length_append_sub, ↓reduceIte]
-     rw [ih v rest h.1]
-    simp only [length_append_sub, ↓reduceIte]
-→    rw [ih v rest h.1]
-    simp only [length_append_sub, ↓reduceIte]
-     rw [ih v rest h.1]
-    simp only [length_append_sub, ↓reduceIte]
-B    rw [ih v rest h.1]
-    simp only [length_append_sub, ↓reduceIte]
-o    rw [ih v rest h.1]
-    simp only [length_append_sub, ↓reduceIte]
-o    rw [ih v rest h.1]
-    simp only [length_append_sub, ↓reduceIte]
-l    rw [ih v rest h.1]
-    simp only [length_append_sub, ↓reduceIte]
-)    rw [ih v rest h.1]
-    simp only [length_append_sub, ↓reduceIte]
-     rw [ih v rest h.1]
-    simp only [length_append_sub, ↓reduceIte]
-(    rw [ih v rest h.1]
-    simp only [length_append_sub, ↓reduceIte]
-v    rw [ih v rest h.1]
-    simp only [length_append_sub, ↓reduceIte]
-s    rw [ih v rest h.1]
-    simp only [length_append_sub, ↓reduceIte]
-     rw [ih v rest h.1]
-    simp only [length_append_sub, ↓reduceIte]
-:    rw [ih v rest h.1]
-    simp only [length_append_sub, ↓reduceIte]
-     rw [ih v rest h.1]
-    simp only [length_append_sub, ↓reduceIte]
-L    rw [ih v rest h.1]
-    simp only [length_append_sub, ↓reduceIte]
-i    rw [ih v rest h.1]
-    simp only [length_append_sub, ↓reduceIte]
-s    rw [ih v rest h.1]
-    simp only [length_append_sub, ↓reduceIte]
-t    rw [ih v rest h.1]
-    simp only [length_append_sub, ↓reduceIte]
-     rw [ih v rest h.1]
-    simp only [length_append_sub, ↓reduceIte]
-V    rw [ih v rest h.1]
-    simp only [length_append_sub, ↓reduceIte]
-a    rw [ih v rest h.1]
-    simp only [length_append_sub, ↓reduceIte]
-l    rw [ih v rest h.1]
-    simp only [length_append_sub, ↓reduceIte]
-)    rw [ih v rest h.1]
-    simp only [length_append_sub, ↓reduceIte]
-     rw [ih v rest h.1]
-    simp only [length_append_sub, ↓reduceIte]
-(    rw [ih v rest h.1]
-    simp only [length_append_sub, ↓reduceIte]
-h    rw [ih v rest h.1]
-    simp only [length_append_sub, ↓reduceIte]
-     rw [ih v rest h.1]
-    simp only [length_append_sub, ↓reduceIte]
-:    rw [ih v rest h.1]
-    simp only [length_append_sub, ↓reduceIte]
-     rw [ih v rest h.1]
-    simp only [length_append_sub, ↓reduceIte]
-a    rw [ih v rest h.1]
-    simp only [length_append_sub, ↓reduceIte]
-l    rw [ih v rest h.1]
-    simp only [length_append_sub, ↓reduceIte]
-l    rw [ih v rest h.1]
-    simp only [length_append_sub, ↓reduceIte]
-W    rw [ih v rest h.1]
-    simp only [length_append_sub, ↓reduceIte]
-T    rw [ih v rest h.1]
-    simp only [length_append_sub, ↓reduceIte]
-     rw [ih v rest h.1]
-    simp only [length_append_sub, ↓reduceIte]
-w    rw [ih v rest h.1]
-    simp only [length_append_sub, ↓reduceIte]
-     rw [ih v rest h.1]
-    simp only [length_append_sub, ↓reduceIte]
-v    rw [ih v rest h.1]
-    simp only [length_append_sub, ↓reduceIte]
-s    rw [ih v rest h.1]
-    simp only [length_append_sub, ↓reduceIte]
-     rw [ih v rest h.1]
-    simp only [length_append_sub, ↓reduceIte]
-=    rw [ih v rest h.1]
-    simp only [length_append_sub, ↓reduceIte]
-     rw [ih v rest h.1]
-    simp only [length_append_sub, ↓reduceIte]
-t    rw [ih v rest h.1]
-    simp only [length_append_sub, ↓reduceIte]
-r    rw [ih v rest h.1]
-    simp only [length_append_sub, ↓reduceIte]
-u    rw [ih v rest h.1]
-    simp only [length_append_sub, ↓reduceIte]
-e    rw [ih v rest h.1]
-    simp only [length_append_sub, ↓reduceIte]
-)    rw [ih v rest h.1]
-    simp only [length_append_sub, ↓reduceIte]
-     rw [ih v rest h.1]
-    simp only [length_append_sub, ↓reduceIte]
-:    rw [ih v rest h.1]
-    simp only [length_append_sub, ↓reduceIte]
-     rw [ih v rest h.1]
-    simp only [length_append_sub, ↓reduceIte]
-∀    rw [ih v rest h.1]
-    simp only [length_append_sub, ↓reduceIte]
-     rw [ih v rest h.1]
-    simp only [length_append_sub, ↓reduceIte]
-v    rw [ih v rest h.1]
-    simp only [length_append_sub, ↓reduceIte]
-     rw [ih v rest h.1]
-    simp only [length_append_sub, ↓reduceIte]
-∈    rw [ih v rest h.1]
-    simp only [length_append_sub, ↓reduceIte]
-     rw [ih v rest h.1]
-    simp only [length_append_sub, ↓reduceIte]
-v    rw [ih v rest h.1]
-    simp only [length_append_sub, ↓reduceIte]
-s    rw [ih v rest h.1]
-    simp only [length_append_sub, ↓reduceIte]
-,    rw [ih v rest h.1]
-    simp only [length_append_sub, ↓reduceIte]
-     rw [ih v rest h.1]
-    simp only [length_append_sub, ↓reduceIte]
-w    rw [ih v rest h.1]
-    simp only [length_append_sub, ↓reduceIte]
-     rw [ih v rest h.1]
-    simp only [length_append_sub, ↓reduceIte]
-v    rw [ih v rest h.1]
-    simp only [length_append_sub, ↓reduceIte]
-     rw [ih v rest h.1]
-    simp only [length_append_sub, ↓reduceIte]
-=    rw [ih v rest h.1]
-    simp only [length_append_sub, ↓reduceIte]
-     rw [ih v rest h.1]
-    simp only [length_append_sub, ↓reduceIte]
-t    rw [ih v rest h.1]
-    simp only [length_append_sub, ↓reduceIte]
-r    rw [ih v rest h.1]
-    simp only [length_append_sub, ↓reduceIte]
-u    rw [ih v rest h.1]
-    simp only [length_append_sub, ↓reduceIte]
-e    rw [ih v rest h.1]
-    simp only [length_append_sub, ↓reduceIte]
-     rw [ih v rest h.1]
-    simp only [length_append_sub, ↓reduceIte]
-:    rw [ih v rest h.1]
-    simp only [length_append_sub, ↓reduceIte]
-=    rw [ih v rest h.1]
-    simp only [length_append_sub, ↓reduceIte]
-     rw [ih v rest h.1]
-    simp only [length_append_sub, ↓reduceIte]
-b    rw [ih v rest h.1]
-    simp only [length_append_sub, ↓reduceIte]
-y    rw [ih v rest h.1]
-    simp only [length_append_sub, ↓reduceIte]
-
-    rw [ih v rest h.1]
-    simp only [length_append_sub, ↓reduceIte]
-     rw [ih v rest h.1]
-    simp only [length_append_sub, ↓reduceIte]
-     rw [ih v rest h.1]
-    simp only [length_append_sub, ↓reduceIte]
-i    rw [ih v rest h.1]
-    simp only [length_append_sub, ↓reduceIte]
-n    rw [ih v rest h.1]
-    simp only [length_append_sub, ↓reduceIte]
-d    rw [ih v rest h.1]
-    simp only [length_append_sub, ↓reduceIte]
-u    rw [ih v rest h.1]
-    simp only [length_append_sub, ↓reduceIte]
-c    rw [ih v rest h.1]
-    simp only [length_append_sub, ↓reduceIte]
-t    rw [ih v rest h.1]
-    simp only [length_append_sub, ↓reduceIte]
-i    rw [ih v rest h.1]
-    simp only [length_append_sub, ↓reduceIte]
-o    rw [ih v rest h.1]
-    simp only [length_append_sub, ↓reduceIte]
-n    rw [ih v rest h.1]
-    simp only [length_append_sub, ↓reduceIte]
-     rw [ih v rest h.1]
-    simp only [length_append_sub, ↓reduceIte]
-v    rw [ih v rest h.1]
-    simp only [length_append_sub, ↓reduceIte]
-s    rw [ih v rest h.1]
-    simp only [length_append_sub, ↓reduceIte]
-     rw [ih v rest h.1]
-    simp only [length_append_sub, ↓reduceIte]
-w    rw [ih v rest h.1]
-    simp only [length_append_sub, ↓reduceIte]
-i    rw [ih v rest h.1]
-    simp only [length_append_sub, ↓reduceIte]
-t    rw [ih v rest h.1]
-    simp only [length_append_sub, ↓reduceIte]
-h    rw [ih v rest h.1]
-    simp only [length_append_sub, ↓reduceIte]
-
-    rw [ih v rest h.1]
-    simp only [length_append_sub, ↓reduceIte]
-     rw [ih v rest h.1]
-    simp only [length_append_sub, ↓reduceIte]
-     rw [ih v rest h.1]
-    simp only [length_append_sub, ↓reduceIte]
-|    rw [ih v rest h.1]
-    simp only [length_append_sub, ↓reduceIte]
-     rw [ih v rest h.1]
-    simp only [length_append_sub, ↓reduceIte]
-n    rw [ih v rest h.1]
-    simp only [length_append_sub, ↓reduceIte]
-i    rw [ih v rest h.1]
-    simp only [length_append_sub, ↓reduceIte]
-l    rw [ih v rest h.1]
-    simp only [length_append_sub, ↓reduceIte]
-     rw [ih v rest h.1]
-    simp only [length_append_sub, ↓reduceIte]
-=    rw [ih v rest h.1]
-    simp only [length_append_sub, ↓reduceIte]
->    rw [ih v rest h.1]
-    simp only [length_append_sub, ↓reduceIte]
-     rw [ih v rest h.1]
-    simp only [length_append_sub, ↓reduceIte]
-i    rw [ih v rest h.1]
-    simp only [length_append_sub, ↓reduceIte]
-n    rw [ih v rest h.1]
-    simp only [length_append_sub, ↓reduceIte]
-t    rw [ih v rest h.1]
-    simp only [length_append_sub, ↓reduceIte]
-r    rw [ih v rest h.1]
-    simp only [length_append_sub, ↓reduceIte]
-o    rw [ih v rest h.1]
-    simp only [length_append_sub, ↓reduceIte]
-     rw [ih v rest h.1]
-    simp only [length_append_sub, ↓reduceIte]
-v    rw [ih v rest h.1]
-    simp only [length_append_sub, ↓reduceIte]
-     rw [ih v rest h.1]
-    simp only [length_append_sub, ↓reduceIte]
-h    rw [ih v rest h.1]
-    simp only [length_append_sub, ↓reduceIte]
-v    rw [ih v rest h.1]
-    simp only [length_append_sub, ↓reduceIte]
-;    rw [ih v rest h.1]
-    simp only [length_append_sub, ↓reduceIte]
-     rw [ih v rest h.1]
-    simp only [length_append_sub, ↓reduceIte]
-c    rw [ih v rest h.1]
-    simp only [length_append_sub, ↓reduceIte]
-a    rw [ih v rest h.1]
-    simp only [length_append_sub, ↓reduceIte]
-s    rw [ih v rest h.1]
-    simp only [length_append_sub, ↓reduceIte]
-e    rw [ih v rest h.1]
-    simp only [length_append_sub, ↓reduceIte]
-s    rw [ih v rest h.1]
-    simp only [length_append_sub, ↓reduceIte]
-     rw [ih v rest h.1]
-    simp only [length_append_sub, ↓reduceIte]
-h    rw [ih v rest h.1]
-    simp only [length_append_sub, ↓reduceIte]
-v    rw [ih v rest h.1]
-    simp only [length_append_sub, ↓reduceIte]
-
-    rw [ih v rest h.1]
-    simp only [length_append_sub, ↓reduceIte]
-     rw [ih v rest h.1]
-    simp only [length_append_sub, ↓reduceIte]
-     rw [ih v rest h.1]
-    simp only [length_append_sub, ↓reduceIte]
-|    rw [ih v rest h.1]
-    simp only [length_append_sub, ↓reduceIte]
-     rw [ih v rest h.1]
-    simp only [length_append_sub, ↓reduceIte]
-c    rw [ih v rest h.1]
-    simp only [length_append_sub, ↓reduceIte]
-o    rw [ih v rest h.1]
-    simp only [length_append_sub, ↓reduceIte]
-n    rw [ih v rest h.1]
-    simp only [length_append_sub, ↓reduceIte]
-s    rw [ih v rest h.1]
-    simp only [length_append_sub, ↓reduceIte]
-     rw [ih v rest h.1]
-    simp only [length_append_sub, ↓reduceIte]
-x    rw [ih v rest h.1]
-    simp only [length_append_sub, ↓reduceIte]
-     rw [ih v rest h.1]
-    simp only [length_append_sub, ↓reduceIte]
-x    rw [ih v rest h.1]
-    simp only [length_append_sub, ↓reduceIte]
-s    rw [ih v rest h.1]
-    simp only [length_append_sub, ↓reduceIte]
-     rw [ih v rest h.1]
-    simp only [length_append_sub, ↓reduceIte]
-i    rw [ih v rest h.1]
-    simp only [length_append_sub, ↓reduceIte]
-h    rw [ih v rest h.1]
-    simp only [length_append_sub, ↓reduceIte]
-     rw [ih v rest h.1]
-    simp only [length_append_sub, ↓reduceIte]
-=    rw [ih v rest h.1]
-    simp only [length_append_sub, ↓reduceIte]
->    rw [ih v rest h.1]
-    simp only [length_append_sub, ↓reduceIte]
-
-    rw [ih v rest h.1]
-    simp only [length_append_sub, ↓reduceIte]
-     rw [ih v rest h.1]
-    simp only [length_append_sub, ↓reduceIte]
-     rw [ih v rest h.1]
-    simp only [length_append_sub, ↓reduceIte]
-     rw [ih v rest h.1]
-    simp only [length_append_sub, ↓reduceIte]
-     rw [ih v rest h.1]
-    simp only [length_append_sub, ↓reduceIte]
-s    rw [ih v rest h.1]
-    simp only [length_append_sub, ↓reduceIte]
-i    rw [ih v rest h.1]
-    simp only [length_append_sub, ↓reduceIte]
-m    rw [ih v rest h.1]
-    simp only [length_append_sub, ↓reduceIte]
-p    rw [ih v rest h.1]
-    simp only [length_append_sub, ↓reduceIte]
-     rw [ih v rest h.1]
-    simp only [length_append_sub, ↓reduceIte]
-o    rw [ih v rest h.1]
-    simp only [length_append_sub, ↓reduceIte]
-n    rw [ih v rest h.1]
-    simp only [length_append_sub, ↓reduceIte]
-l    rw [ih v rest h.1]
-    simp only [length_append_sub, ↓reduceIte]
-y    rw [ih v rest h.1]
-    simp only [length_append_sub, ↓reduceIte]
-     rw [ih v rest h.1]
-    simp only [length_append_sub, ↓reduceIte]
-[    rw [ih v rest h.1]
-    simp only [length_append_sub, ↓reduceIte]
-a    rw [ih v rest h.1]
-    simp only [length_append_sub, ↓reduceIte]
-l    rw [ih v rest h.1]
-    simp only [length_append_sub, ↓reduceIte]
-l    rw [ih v rest h.1]
-    simp only [length_append_sub, ↓reduceIte]
-W    rw [ih v rest h.1]
-    simp only [length_append_sub, ↓reduceIte]
-T    rw [ih v rest h.1]
-    simp only [length_append_sub, ↓reduceIte]
-,    rw [ih v rest h.1]
-    simp only [length_append_sub, ↓reduceIte]
-     rw [ih v rest h.1]
-    simp only [length_append_sub, ↓reduceIte]
-B    rw [ih v rest h.1]
-    simp only [length_append_sub, ↓reduceIte]
-o    rw [ih v rest h.1]
-    simp only [length_append_sub, ↓reduceIte]
-o    rw [ih v rest h.1]
-    simp only [length_append_sub, ↓reduceIte]
-l    rw [ih v rest h.1]
-    simp only [length_append_sub, ↓reduceIte]
-.    rw [ih v rest h.1]
-    simp only [length_append_sub, ↓reduceIte]
-a    rw [ih v rest h.1]
-    simp only [length_append_sub, ↓reduceIte]
-n    rw [ih v rest h.1]
-    simp only [length_append_sub, ↓reduceIte]
-d    rw [ih v rest h.1]
-    simp only [length_append_sub, ↓reduceIte]
-_    rw [ih v rest h.1]
-    simp only [length_append_sub, ↓reduceIte]
-e    rw [ih v rest h.1]
-    simp only [length_append_sub, ↓reduceIte]
-q    rw [ih v rest h.1]
-    simp only [length_append_sub, ↓reduceIte]
-_    rw [ih v rest h.1]
-    simp only [length_append_sub, ↓reduceIte]
-t    rw [ih v rest h.1]
-    simp only [length_append_sub, ↓reduceIte]
-r    rw [ih v rest h.1]
-    simp only [length_append_sub, ↓reduceIte]
-u    rw [ih v rest h.1]
-    simp only [length_append_sub, ↓reduceIte]
-e    rw [ih v rest h.1]
-    simp only [length_append_sub, ↓reduceIte]
-]    rw [ih v rest h.1]
-    simp only [length_append_sub, ↓reduceIte]
-     rw [ih v rest h.1]
-    simp only [length_append_sub, ↓reduceIte]
-a    rw [ih v rest h.1]
-    simp only [length_append_sub, ↓reduceIte]
-t    rw [ih v rest h.1]
-    simp only [length_append_sub, ↓reduceIte]
-     rw [ih v rest h.1]
-    simp only [length_append_sub, ↓reduceIte]
-h    rw [ih v rest h.1]
-    simp only [length_append_sub, ↓reduceIte]
-
-    rw [ih v rest h.1]
-    simp only [length_append_sub, ↓reduceIte]
-     rw [ih v rest h.1]
-    simp only [length_append_sub, ↓reduceIte]
-     rw [ih v rest h.1]
-    simp only [length_append_sub, ↓reduceIte]
-     rw [ih v rest h.1]
-    simp only [length_append_sub, ↓reduceIte]
-     rw [ih v rest h.1]
-    simp only [length_append_sub, ↓reduceIte]
-i    rw [ih v rest h.1]
-    simp only [length_append_sub, ↓reduceIte]
-n    rw [ih v rest h.1]
-    simp only [length_append_sub, ↓reduceIte]
-t    rw [ih v rest h.1]
-    simp only [length_append_sub, ↓reduceIte]
-r    rw [ih v rest h.1]
-    simp only [length_append_sub, ↓reduceIte]
-o    rw [ih v rest h.1]
-    simp only [length_append_sub, ↓reduceIte]
-     rw [ih v rest h.1]
-    simp only [length_append_sub, ↓reduceIte]
-v    rw [ih v rest h.1]
-    simp only [length_append_sub, ↓reduceIte]
-     rw [ih v rest h.1]
-    simp only [length_append_sub, ↓reduceIte]
-h    rw [ih v rest h.1]
-    simp only [length_append_sub, ↓reduceIte]
-v    rw [ih v rest h.1]
-    simp only [length_append_sub, ↓reduceIte]
-
-    rw [ih v rest h.1]
-    simp only [length_append_sub, ↓reduceIte]
-     rw [ih v rest h.1]
-    simp only [length_append_sub, ↓reduceIte]
-     rw [ih v rest h.1]
-    simp only [length_append_sub, ↓reduceIte]
-     rw [ih v rest h.1]
-    simp only [length_append_sub, ↓reduceIte]
-     rw [ih v rest h.1]
-    simp only [length_append_sub, ↓reduceIte]
-r    rw [ih v rest h.1]
-    simp only [length_append_sub, ↓reduceIte]
-c    rw [ih v rest h.1]
-    simp only [length_append_sub, ↓reduceIte]
-a    rw [ih v rest h.1]
-    simp only [length_append_sub, ↓reduceIte]
-s    rw [ih v rest h.1]
-    simp only [length_append_sub, ↓reduceIte]
-e    rw [ih v rest h.1]
-    simp only [length_append_sub, ↓reduceIte]
-s    rw [ih v rest h.1]
-    simp only [length_append_sub, ↓reduceIte]
-     rw [ih v rest h.1]
-    simp only [length_append_sub, ↓reduceIte]
-L    rw [ih v rest h.1]
-    simp only [length_append_sub, ↓reduceIte]
-i    rw [ih v rest h.1]
-    simp only [length_append_sub, ↓reduceIte]
-s    rw [ih v rest h.1]
-    simp only [length_append_sub, ↓reduceIte]
-t    rw [ih v rest h.1]
-    simp only [length_append_sub, ↓reduceIte]
-.    rw [ih v rest h.1]
-    simp only [length_append_sub, ↓reduceIte]
-m    rw [ih v rest h.1]
-    simp only [length_append_sub, ↓reduceIte]
-e    rw [ih v rest h.1]
-    simp only [length_append_sub, ↓reduceIte]
-m    rw [ih v rest h.1]
-    simp only [length_append_sub, ↓reduceIte]
-_    rw [ih v rest h.1]
-    simp only [length_append_sub, ↓reduceIte]
-c    rw [ih v rest h.1]
-    simp only [length_append_sub, ↓reduceIte]
-o    rw [ih v rest h.1]
-    simp only [length_append_sub, ↓reduceIte]
-n    rw [ih v rest h.1]
-    simp only [length_append_sub, ↓reduceIte]
-s    rw [ih v rest h.1]
-    simp only [length_append_sub, ↓reduceIte]
-.    rw [ih v rest h.1]
-    simp only [length_append_sub, ↓reduceIte]
-m    rw [ih v rest h.1]
-    simp only [length_append_sub, ↓reduceIte]
-p    rw [ih v rest h.1]
-    simp only [length_append_sub, ↓reduceIte]
-     rw [ih v rest h.1]
-    simp only [length_append_sub, ↓reduceIte]
-h    rw [ih v rest h.1]
-    simp only [length_append_sub, ↓reduceIte]
-v    rw [ih v rest h.1]
-    simp only [length_append_sub, ↓reduceIte]
-     rw [ih v rest h.1]
-    simp only [length_append_sub, ↓reduceIte]
-w    rw [ih v rest h.1]
-    simp only [length_append_sub, ↓reduceIte]
-i    rw [ih v rest h.1]
-    simp only [length_append_sub, ↓reduceIte]
-t    rw [ih v rest h.1]
-    simp only [length_append_sub, ↓reduceIte]
-h    rw [ih v rest h.1]
-    simp only [length_append_sub, ↓reduceIte]
-     rw [ih v rest h.1]
-    simp only [length_append_sub, ↓reduceIte]
-e    rw [ih v rest h.1]
-    simp only [length_append_sub, ↓reduceIte]
-     rw [ih v rest h.1]
-    simp only [length_append_sub, ↓reduceIte]
-|    rw [ih v rest h.1]
-    simp only [length_append_sub, ↓reduceIte]
-     rw [ih v rest h.1]
-    simp only [length_append_sub, ↓reduceIte]
-e    rw [ih v rest h.1]
-    simp only [length_append_sub, ↓reduceIte]
-
-    rw [ih v rest h.1]
-    simp only [length_append_sub, ↓reduceIte]
-     rw [ih v rest h.1]
-    simp only [length_append_sub, ↓reduceIte]
-     rw [ih v rest h.1]
-    simp only [length_append_sub, ↓reduceIte]
-     rw [ih v rest h.1]
-    simp only [length_append_sub, ↓reduceIte]
-     rw [ih v rest h.1]
-    simp only [length_append_sub, ↓reduceIte]
-·    rw [ih v rest h.1]
-    simp only [length_append_sub, ↓reduceIte]
-     rw [ih v rest h.1]
-    simp only [length_append_sub, ↓reduceIte]
-r    rw [ih v rest h.1]
-    simp only [length_append_sub, ↓reduceIte]
-w    rw [ih v rest h.1]
-    simp only [length_append_sub, ↓reduceIte]
-     rw [ih v rest h.1]
-    simp only [length_append_sub, ↓reduceIte]
-[    rw [ih v rest h.1]
-    simp only [length_append_sub, ↓reduceIte]
-e    rw [ih v rest h.1]
-    simp only [length_append_sub, ↓reduceIte]
-]    rw [ih v rest h.1]
-    simp only [length_append_sub, ↓reduceIte]
-;    rw [ih v rest h.1]
-    simp only [length_append_sub, ↓reduceIte]
-     rw [ih v rest h.1]
-    simp only [length_append_sub, ↓reduceIte]
-e    rw [ih v rest h.1]
-    simp only [length_append_sub, ↓reduceIte]
-x    rw [ih v rest h.1]
-    simp only [length_append_sub, ↓reduceIte]
-a    rw [ih v rest h.1]
-    simp only [length_append_sub, ↓reduceIte]
-c    rw [ih v rest h.1]
-    simp only [length_append_sub, ↓reduceIte]
-t    rw [ih v rest h.1]
-    simp only [length_append_sub, ↓reduceIte]
-     rw [ih v rest h.1]
-    simp only [length_append_sub, ↓reduceIte]
-h    rw [ih v rest h.1]
-    simp only [length_append_sub, ↓reduceIte]
-.    rw [ih v rest h.1]
-    simp only [length_append_sub, ↓reduceIte]
-1    rw [ih v rest h.1]
-    simp only [length_append_sub, ↓reduceIte]
-
-    rw [ih v rest h.1]
-    simp only [length_append_sub, ↓reduceIte]
-     rw [ih v rest h.1]
-    simp only [length_append_sub, ↓reduceIte]
-     rw [ih v rest h.1]
-    simp only [length_append_sub, ↓reduceIte]
-     rw [ih v rest h.1]
-    simp only [length_append_sub, ↓reduceIte]
-     rw [ih v rest h.1]
-    simp only [length_append_sub, ↓reduceIte]
-·    rw [ih v rest h.1]
-    simp only [length_append_sub, ↓reduceIte]
-     rw [ih v rest h.1]
-    simp only [length_append_sub, ↓reduceIte]
-e    rw [ih v rest h.1]
-    simp only [length_append_sub, ↓reduceIte]
-x    rw [ih v rest h.1]
-    simp only [length_append_sub, ↓reduceIte]
-a    rw [ih v rest h.1]
-    simp only [length_append_sub, ↓reduceIte]
-c    rw [ih v rest h.1]
-    simp only [length_append_sub, ↓reduceIte]
-t    rw [ih v rest h.1]
-    simp only [length_append_sub, ↓reduceIte]
-     rw [ih v rest h.1]
-    simp only [length_append_sub, ↓reduceIte]
-i    rw [ih v rest h.1]
-    simp only [length_append_sub, ↓reduceIte]
-h    rw [ih v rest h.1]
-    simp only [length_append_sub, ↓reduceIte]
-     rw [ih v rest h.1]
-    simp only [length_append_sub, ↓reduceIte]
-h    rw [ih v rest h.1]
-    simp only [length_append_sub, ↓reduceIte]
-.    rw [ih v rest h.1]
-    simp only [length_append_sub, ↓reduceIte]
-2    rw [ih v rest h.1]
-    simp only [length_append_sub, ↓reduceIte]
-     rw [ih v rest h.1]
-    simp only [length_append_sub, ↓reduceIte]
-v    rw [ih v rest h.1]
-    simp only [length_append_sub, ↓reduceIte]
-     rw [ih v rest h.1]
-    simp only [length_append_sub, ↓reduceIte]
-e    rw [ih v rest h.1]
-    simp only [length_append_sub, ↓reduceIte]
-
-    rw [ih v rest h.1]
-    simp only [length_append_sub, ↓reduceIte]
-
-    rw [ih v rest h.1]
-    simp only [length_append_sub, ↓reduceIte]
-t    rw [ih v rest h.1]
-    simp only [length_append_sub, ↓reduceIte]
-h    rw [ih v rest h.1]
-    simp only [length_append_sub, ↓reduceIte]
-e    rw [ih v rest h.1]
-    simp only [length_append_sub, ↓reduceIte]
-o    rw [ih v rest h.1]
-    simp only [length_append_sub, ↓reduceIte]
-r    rw [ih v rest h.1]
-    simp only [length_append_sub, ↓reduceIte]
-e    rw [ih v rest h.1]
-    simp only [length_append_sub, ↓reduceIte]
-m    rw [ih v rest h.1]
-    simp only [length_append_sub, ↓reduceIte]
-     rw [ih v rest h.1]
-    simp only [length_append_sub, ↓reduceIte]
-d    rw [ih v rest h.1]
-    simp only [length_append_sub, ↓reduceIte]
-e    rw [ih v rest h.1]
-    simp only [length_append_sub, ↓reduceIte]
-c    rw [ih v rest h.1]
-    simp only [length_append_sub, ↓reduceIte]
-M    rw [ih v rest h.1]
-    simp only [length_append_sub, ↓reduceIte]
-a    rw [ih v rest h.1]
-    simp only [length_append_sub, ↓reduceIte]
-n    rw [ih v rest h.1]
-    simp only [length_append_sub, ↓reduceIte]
-y    rw [ih v rest h.1]
-    simp only [length_append_sub, ↓reduceIte]
-_    rw [ih v rest h.1]
-    simp only [length_append_sub, ↓reduceIte]
-f    rw [ih v rest h.1]
-    simp only [length_append_sub, ↓reduceIte]
-l    rw [ih v rest h.1]
-    simp only [length_append_sub, ↓reduceIte]
-a    rw [ih v rest h.1]
-    simp only [length_append_sub, ↓reduceIte]
-t    rw [ih v rest h.1]
-    simp only [length_append_sub, ↓reduceIte]
-t    rw [ih v rest h.1]
-    simp only [length_append_sub, ↓reduceIte]
-e    rw [ih v rest h.1]
-    simp only [length_append_sub, ↓reduceIte]
-n    rw [ih v rest h.1]
-    simp only [length_append_sub, ↓reduceIte]
-     rw [ih v rest h.1]
-    simp only [length_append_sub, ↓reduceIte]
-(    rw [ih v rest h.1]
-    simp only [length_append_sub, ↓reduceIte]
-d    rw [ih v rest h.1]
-    simp only [length_append_sub, ↓reduceIte]
-     rw [ih v rest h.1]
-    simp only [length_append_sub, ↓reduceIte]
-:    rw [ih v rest h.1]
-    simp only [length_append_sub, ↓reduceIte]
-     rw [ih v rest h.1]
-    simp only [length_append_sub, ↓reduceIte]
-B    rw [ih v rest h.1]
-    simp only [length_append_sub, ↓reduceIte]
-y    rw [ih v rest h.1]
-    simp only [length_append_sub, ↓reduceIte]
-t    rw [ih v rest h.1]
-    simp only [length_append_sub, ↓reduceIte]
-e    rw [ih v rest h.1]
-    simp only [length_append_sub, ↓reduceIte]
-s    rw [ih v rest h.1]
-    simp only [length_append_sub, ↓reduceIte]
-     rw [ih v rest h.1]
-    simp only [length_append_sub, ↓reduceIte]
-→    rw [ih v rest h.1]
-    simp only [length_append_sub, ↓reduceIte]
-     rw [ih v rest h.1]
-    simp only [length_append_sub, ↓reduceIte]
-O    rw [ih v rest h.1]
-    simp only [length_append_sub, ↓reduceIte]
-p    rw [ih v rest h.1]
-    simp only [length_append_sub, ↓reduceIte]
-t    rw [ih v rest h.1]
-    simp only [length_append_sub, ↓reduceIte]
-i    rw [ih v rest h.1]
-    simp only [length_append_sub, ↓reduceIte]
-o    rw [ih v rest h.1]
-    simp only [length_append_sub, ↓reduceIte]
-n    rw [ih v rest h.1]
-    simp only [length_append_sub, ↓reduceIte]
-     rw [ih v rest h.1]
-    simp only [length_append_sub, ↓reduceIte]
-(    rw [ih v rest h.1]
-    simp only [length_append_sub, ↓reduceIte]
-V    rw [ih v rest h.1]
-    simp only [length_append_sub, ↓reduceIte]
-a    rw [ih v rest h.1]
-    simp only [length_append_sub, ↓reduceIte]
-l    rw [ih v rest h.1]
-    simp only [length_append_sub, ↓reduceIte]
-     rw [ih v rest h.1]
-    simp only [length_append_sub, ↓reduceIte]
-×    rw [ih v rest h.1]
-    simp only [length_append_sub, ↓reduceIte]
-     rw [ih v rest h.1]
-    simp only [length_append_sub, ↓reduceIte]
-B    rw [ih v rest h.1]
-    simp only [length_append_sub, ↓reduceIte]
-y    rw [ih v rest h.1]
-    simp only [length_append_sub, ↓reduceIte]
-t    rw [ih v rest h.1]
-    simp only [length_append_sub, ↓reduceIte]
-e    rw [ih v rest h.1]
-    simp only [length_append_sub, ↓reduceIte]
-s    rw [ih v rest h.1]
-    simp only [length_append_sub, ↓reduceIte]
-)    rw [ih v rest h.1]
-    simp only [length_append_sub, ↓reduceIte]
-)    rw [ih v rest h.1]
-    simp only [length_append_sub, ↓reduceIte]
-     rw [ih v rest h.1]
-    simp only [length_append_sub, ↓reduceIte]
-(    rw [ih v rest h.1]
-    simp only [length_append_sub, ↓reduceIte]
-g    rw [ih v rest h.1]
-    simp only [length_append_sub, ↓reduceIte]
-     rw [ih v rest h.1]
-    simp only [length_append_sub, ↓reduceIte]
-:    rw [ih v rest h.1]
-    simp only [length_append_sub, ↓reduceIte]
-     rw [ih v rest h.1]
-    simp only [length_append_sub, ↓reduceIte]
-V    rw [ih v rest h.1]
-    simp only [length_append_sub, ↓reduceIte]
-a    rw [ih v rest h.1]
-    simp only [length_append_sub, ↓reduceIte]
-l    rw [ih v rest h.1]
-    simp only [length_append_sub, ↓reduceIte]
-     rw [ih v rest h.1]
-    simp only [length_append_sub, ↓reduceIte]
-→    rw [ih v rest h.1]
-    simp only [length_append_sub, ↓reduceIte]
-     rw [ih v rest h.1]
-    simp only [length_append_sub, ↓reduceIte]
-B    rw [ih v rest h.1]
-    simp only [length_append_sub, ↓reduceIte]
-y    rw [ih v rest h.1]
-    simp only [length_append_sub, ↓reduceIte]
-t    rw [ih v rest h.1]
-    simp only [length_append_sub, ↓reduceIte]
-e    rw [ih v rest h.1]
-    simp only [length_append_sub, ↓reduceIte]
-s    rw [ih v rest h.1]
-    simp only [length_append_sub, ↓reduceIte]
-)    rw [ih v rest h.1]
-    simp only [length_append_sub, ↓reduceIte]
-     rw [ih v rest h.1]
-    simp only [length_append_sub, ↓reduceIte]
-(    rw [ih v rest h.1]
-    simp only [length_append_sub, ↓reduceIte]
-v    rw [ih v rest h.1]
-    simp only [length_append_sub, ↓reduceIte]
-s    rw [ih v rest h.1]
-    simp only [length_append_sub, ↓reduceIte]
-     rw [ih v rest h.1]
-    simp only [length_append_sub, ↓reduceIte]
-:    rw [ih v rest h.1]
-    simp only [length_append_sub, ↓reduceIte]
-     rw [ih v rest h.1]
-    simp only [length_append_sub, ↓reduceIte]
-L    rw [ih v rest h.1]
-    simp only [length_append_sub, ↓reduceIte]
-i    rw [ih v rest h.1]
-    simp only [length_append_sub, ↓reduceIte]
-s    rw [ih v rest h.1]
-    simp only [length_append_sub, ↓reduceIte]
-t    rw [ih v rest h.1]
-    simp only [length_append_sub, ↓reduceIte]
-     rw [ih v rest h.1]
-    simp only [length_append_sub, ↓reduceIte]
-V    rw [ih v rest h.1]
-    simp only [length_append_sub, ↓reduceIte]
-a    rw [ih v rest h.1]
-    simp only [length_append_sub, ↓reduceIte]
-l    rw [ih v rest h.1]
-    simp only [length_append_sub, ↓reduceIte]
-)    rw [ih v rest h.1]
-    simp only [length_append_sub, ↓reduceIte]
-     rw [ih v rest h.1]
-    simp only [length_append_sub, ↓reduceIte]
-(    rw [ih v rest h.1]
-    simp only [length_append_sub, ↓reduceIte]
-r    rw [ih v rest h.1]
-    simp only [length_append_sub, ↓reduceIte]
-e    rw [ih v rest h.1]
-    simp only [length_append_sub, ↓reduceIte]
-s    rw [ih v rest h.1]
-    simp only [length_append_sub, ↓reduceIte]
-t    rw [ih v rest h.1]
-    simp only [length_append_sub, ↓reduceIte]
-     rw [ih v rest h.1]
-    simp only [length_append_sub, ↓reduceIte]
-:    rw [ih v rest h.1]
-    simp only [length_append_sub, ↓reduceIte]
-     rw [ih v rest h.1]
-    simp only [length_append_sub, ↓reduceIte]
-B    rw [ih v rest h.1]
-    simp only [length_append_sub, ↓reduceIte]
-y    rw [ih v rest h.1]
-    simp only [length_append_sub, ↓reduceIte]
-t    rw [ih v rest h.1]
-    simp only [length_append_sub, ↓reduceIte]
-e    rw [ih v rest h.1]
-    simp only [length_append_sub, ↓reduceIte]
-s    rw [ih v rest h.1]
-    simp only [length_append_sub, ↓reduceIte]
-)    rw [ih v rest h.1]
-    simp only [length_append_sub, ↓reduceIte]
-
-    rw [ih v rest h.1]
-    simp only [length_append_sub, ↓reduceIte]
-     rw [ih v rest h.1]
-    simp only [length_append_sub, ↓reduceIte]
-     rw [ih v rest h.1]
-    simp only [length_append_sub, ↓reduceIte]
-     rw [ih v rest h.1]
-    simp only [length_append_sub, ↓reduceIte]
-     rw [ih v rest h.1]
-    simp only [length_append_sub, ↓reduceIte]
-(    rw [ih v rest h.1]
-    simp only [length_append_sub, ↓reduceIte]
-h    rw [ih v rest h.1]
-    simp only [length_append_sub, ↓reduceIte]
-     rw [ih v rest h.1]
-    simp only [length_append_sub, ↓reduceIte]
-:    rw [ih v rest h.1]
-    simp only [length_append_sub, ↓reduceIte]
-     rw [ih v rest h.1]
-    simp only [length_append_sub, ↓reduceIte]
-∀    rw [ih v rest h.1]
-    simp only [length_append_sub, ↓reduceIte]
-     rw [ih v rest h.1]
-    simp only [length_append_sub, ↓reduceIte]
-v    rw [ih v rest h.1]
-    simp only [length_append_sub, ↓reduceIte]
-     rw [ih v rest h.1]
-    simp only [length_append_sub, ↓reduceIte]
-∈    rw [ih v rest h.1]
-    simp only [length_append_sub, ↓reduceIte]
-     rw [ih v rest h.1]
-    simp only [length_append_sub, ↓reduceIte]
-v    rw [ih v rest h.1]
-    simp only [length_append_sub, ↓reduceIte]
-s    rw [ih v rest h.1]
-    simp only [length_append_sub, ↓reduceIte]
-,    rw [ih v rest h.1]
-    simp only [length_append_sub, ↓reduceIte]
-     rw [ih v rest h.1]
-    simp only [length_append_sub, ↓reduceIte]
-∀    rw [ih v rest h.1]
-    simp only [length_append_sub, ↓reduceIte]
-     rw [ih v rest h.1]
-    simp only [length_append_sub, ↓reduceIte]
-r    rw [ih v rest h.1]
-    simp only [length_append_sub, ↓reduceIte]
-,    rw [ih v rest h.1]
-    simp only [length_append_sub, ↓reduceIte]
-     rw [ih v rest h.1]
-    simp only [length_append_sub, ↓reduceIte]
-d    rw [ih v rest h.1]
-    simp only [length_append_sub, ↓reduceIte]
-     rw [ih v rest h.1]
-    simp only [length_append_sub, ↓reduceIte]
-(    rw [ih v rest h.1]
-    simp only [length_append_sub, ↓reduceIte]
-g    rw [ih v rest h.1]
-    simp only [length_append_sub, ↓reduceIte]
-     rw [ih v rest h.1]
-    simp only [length_append_sub, ↓reduceIte]
-v    rw [ih v rest h.1]
-    simp only [length_append_sub, ↓reduceIte]
-     rw [ih v rest h.1]
-    simp only [length_append_sub, ↓reduceIte]
-+    rw [ih v rest h.1]
-    simp only [length_append_sub, ↓reduceIte]
-+    rw [ih v rest h.1]
-    simp only [length_append_sub, ↓reduceIte]
-     rw [ih v rest h.1]
-    simp only [length_append_sub, ↓reduceIte]
-r    rw [ih v rest h.1]
-    simp only [length_append_sub, ↓reduceIte]
-)    rw [ih v rest h.1]
-    simp only [length_append_sub, ↓reduceIte]
-     rw [ih v rest h.1]
-    simp only [length_append_sub, ↓reduceIte]
-=    rw [ih v rest h.1]
-    simp only [length_append_sub, ↓reduceIte]
-     rw [ih v rest h.1]
-    simp only [length_append_sub, ↓reduceIte]
-s    rw [ih v rest h.1]
-    simp only [length_append_sub, ↓reduceIte]
-o    rw [ih v rest h.1]
-    simp only [length_append_sub, ↓reduceIte]
-m    rw [ih v rest h.1]
-    simp only [length_append_sub, ↓reduceIte]
-e    rw [ih v rest h.1]
-    simp only [length_append_sub, ↓reduceIte]
-     rw [ih v rest h.1]
-    simp only [length_append_sub, ↓reduceIte]
-(    rw [ih v rest h.1]
-    simp only [length_append_sub, ↓reduceIte]
-v    rw [ih v rest h.1]
-    simp only [length_append_sub, ↓reduceIte]
-,    rw [ih v rest h.1]
-    simp only [length_append_sub, ↓reduceIte]
-     rw [ih v rest h.1]
-    simp only [length_append_sub, ↓reduceIte]
-r    rw [ih v rest h.1]
-    simp only [length_append_sub, ↓reduceIte]
-)    rw [ih v rest h.1]
-    simp only [length_append_sub, ↓reduceIte]
-)    rw [ih v rest h.1]
-    simp only [length_append_sub, ↓reduceIte]
-     rw [ih v rest h.1]
-    simp only [length_append_sub, ↓reduceIte]
-:    rw [ih v rest h.1]
-    simp only [length_append_sub, ↓reduceIte]
-
-    rw [ih v rest h.1]
-    simp only [length_append_sub, ↓reduceIte]
-     rw [ih v rest h.1]
-    simp only [length_append_sub, ↓reduceIte]
-     rw [ih v rest h.1]
-    simp only [length_append_sub, ↓reduceIte]
-     rw [ih v rest h.1]
-    simp only [length_append_sub, ↓reduceIte]
-     rw [ih v rest h.1]
-    simp only [length_append_sub, ↓reduceIte]
-d    rw [ih v rest h.1]
-    simp only [length_append_sub, ↓reduceIte]
-e    rw [ih v rest h.1]
-    simp only [length_append_sub, ↓reduceIte]
-c    rw [ih v rest h.1]
-    simp only [length_append_sub, ↓reduceIte]
-M    rw [ih v rest h.1]
-    simp only [length_append_sub, ↓reduceIte]
-a    rw [ih v rest h.1]
-    simp only [length_append_sub, ↓reduceIte]
-n    rw [ih v rest h.1]
-    simp only [length_append_sub, ↓reduceIte]
-y    rw [ih v rest h.1]
-    simp only [length_append_sub, ↓reduceIte]
-     rw [ih v rest h.1]
-    simp only [length_append_sub, ↓reduceIte]
-d    rw [ih v rest h.1]
-    simp only [length_append_sub, ↓reduceIte]
-     rw [ih v rest h.1]
-    simp only [length_append_sub, ↓reduceIte]
-v    rw [ih v rest h.1]
-    simp only [length_append_sub, ↓reduceIte]
-s    rw [ih v rest h.1]
-    simp only [length_append_sub, ↓reduceIte]
-.    rw [ih v rest h.1]
-    simp only [length_append_sub, ↓reduceIte]
-l    rw [ih v rest h.1]
-    simp only [length_append_sub, ↓reduceIte]
-e    rw [ih v rest h.1]
-    simp only [length_append_sub, ↓reduceIte]
-n    rw [ih v rest h.1]
-    simp only [length_append_sub, ↓reduceIte]
-g    rw [ih v rest h.1]
-    simp only [length_append_sub, ↓reduceIte]
-t    rw [ih v rest h.1]
-    simp only [length_append_sub, ↓reduceIte]
-h    rw [ih v rest h.1]
-    simp only [length_append_sub, ↓reduceIte]
-     rw [ih v rest h.1]
-    simp only [length_append_sub, ↓reduceIte]
-(    rw [ih v rest h.1]
-    simp only [length_append_sub, ↓reduceIte]
-(    rw [ih v rest h.1]
-    simp only [length_append_sub, ↓reduceIte]
-v    rw [ih v rest h.1]
-    simp only [length_append_sub, ↓reduceIte]
-s    rw [ih v rest h.1]
-    simp only [length_append_sub, ↓reduceIte]
-.    rw [ih v rest h.1]
-    simp only [length_append_sub, ↓reduceIte]
-m    rw [ih v rest h.1]
-    simp only [length_append_sub, ↓reduceIte]
-a    rw [ih v rest h.1]
-    simp only [length_append_sub, ↓reduceIte]
-p    rw [ih v rest h.1]
-    simp only [length_append_sub, ↓reduceIte]
-     rw [ih v rest h.1]
-    simp only [length_append_sub, ↓reduceIte]
-g    rw [ih v rest h.1]
-    simp only [length_append_sub, ↓reduceIte]
-)    rw [ih v rest h.1]
-    simp only [length_append_sub, ↓reduceIte]
-.    rw [ih v rest h.1]
-    simp only [length_append_sub, ↓reduceIte]
-f    rw [ih v rest h.1]
-    simp only [length_append_sub, ↓reduceIte]
-l    rw [ih v rest h.1]
-    simp only [length_append_sub, ↓reduceIte]
-a    rw [ih v rest h.1]
-    simp only [length_append_sub, ↓reduceIte]
-t    rw [ih v rest h.1]
-    simp only [length_append_sub, ↓reduceIte]
-t    rw [ih v rest h.1]
-    simp only [length_append_sub, ↓reduceIte]
-e    rw [ih v rest h.1]
-    simp only [length_append_sub, ↓reduceIte]
-n    rw [ih v rest h.1]
-    simp only [length_append_sub, ↓reduceIte]
-     rw [ih v rest h.1]
-    simp only [length_append_sub, ↓reduceIte]
-+    rw [ih v rest h.1]
-    simp only [length_append_sub, ↓reduceIte]
-+    rw [ih v rest h.1]
-    simp only [length_append_sub, ↓reduceIte]
-     rw [ih v rest h.1]
-    simp only [length_append_sub, ↓reduceIte]
-r    rw [ih v rest h.1]
-    simp only [length_append_sub, ↓reduceIte]
-e    rw [ih v rest h.1]
-    simp only [length_append_sub, ↓reduceIte]
-s    rw [ih v rest h.1]
-    simp only [length_append_sub, ↓reduceIte]
-t    rw [ih v rest h.1]
-    simp only [length_append_sub, ↓reduceIte]
-)    rw [ih v rest h.1]
-    simp only [length_append_sub, ↓reduceIte]
-     rw [ih v rest h.1]
-    simp only [length_append_sub, ↓reduceIte]
-=    rw [ih v rest h.1]
-    simp only [length_append_sub, ↓reduceIte]
-     rw [ih v rest h.1]
-    simp only [length_append_sub, ↓reduceIte]
-s    rw [ih v rest h.1]
-    simp only [length_append_sub, ↓reduceIte]
-o    rw [ih v rest h.1]
-    simp only [length_append_sub, ↓reduceIte]
-m    rw [ih v rest h.1]
-    simp only [length_append_sub, ↓reduceIte]
-e    rw [ih v rest h.1]
-    simp only [length_append_sub, ↓reduceIte]
-     rw [ih v rest h.1]
-    simp only [length_append_sub, ↓reduceIte]
-(    rw [ih v rest h.1]
-    simp only [length_append_sub, ↓reduceIte]
-v    rw [ih v rest h.1]
-    simp only [length_append_sub, ↓reduceIte]
-s    rw [ih v rest h.1]
-    simp only [length_append_sub, ↓reduceIte]
-,    rw [ih v rest h.1]
-    simp only [length_append_sub, ↓reduceIte]
-     rw [ih v rest h.1]
-    simp only [length_append_sub, ↓reduceIte]
-r    rw [ih v rest h.1]
-    simp only [length_append_sub, ↓reduceIte]
-e    rw [ih v rest h.1]
-    simp only [length_append_sub, ↓reduceIte]
-s    rw [ih v rest h.1]
-    simp only [length_append_sub, ↓reduceIte]
-t    rw [ih v rest h.1]
-    simp only [length_append_sub, ↓reduceIte]
-)    rw [ih v rest h.1]
-    simp only [length_append_sub, ↓reduceIte]
-     rw [ih v rest h.1]
-    simp only [length_append_sub, ↓reduceIte]
-:    rw [ih v rest h.1]
-    simp only [length_append_sub, ↓reduceIte]
-=    rw [ih v rest h.1]
-    simp only [length_append_sub, ↓reduceIte]
-     rw [ih v rest h.1]
-    simp only [length_append_sub, ↓reduceIte]
-b    rw [ih v rest h.1]
-    simp only [length_append_sub, ↓reduceIte]
-y    rw [ih v rest h.1]
-    simp only [length_append_sub, ↓reduceIte]
-
-    rw [ih v rest h.1]
-    simp only [length_append_sub, ↓reduceIte]
-     rw [ih v rest h.1]
-    simp only [length_append_sub, ↓reduceIte]
-     rw [ih v rest h.1]
-    simp only [length_append_sub, ↓reduceIte]
-i    rw [ih v rest h.1]
-    simp only [length_append_sub, ↓reduceIte]
-n    rw [ih v rest h.1]
-    simp only [length_append_sub, ↓reduceIte]
-d    rw [ih v rest h.1]
-    simp only [length_append_sub, ↓reduceIte]
-u    rw [ih v rest h.1]
-    simp only [length_append_sub, ↓reduceIte]
-c    rw [ih v rest h.1]
-    simp only [length_append_sub, ↓reduceIte]
-t    rw [ih v rest h.1]
-    simp only [length_append_sub, ↓reduceIte]
-i    rw [ih v rest h.1]
-    simp only [length_append_sub, ↓reduceIte]
-o    rw [ih v rest h.1]
-    simp only [length_append_sub, ↓reduceIte]
-n    rw [ih v rest h.1]
-    simp only [length_append_sub, ↓reduceIte]
-     rw [ih v rest h.1]
-    simp only [length_append_sub, ↓reduceIte]
-v    rw [ih v rest h.1]
-    simp only [length_append_sub, ↓reduceIte]
-s    rw [ih v rest h.1]
-    simp only [length_append_sub, ↓reduceIte]
-     rw [ih v rest h.1]
-    simp only [length_append_sub, ↓reduceIte]
-w    rw [ih v rest h.1]
-    simp only [length_append_sub, ↓reduceIte]
-i    rw [ih v rest h.1]
-    simp only [length_append_sub, ↓reduceIte]
-t    rw [ih v rest h.1]
-    simp only [length_append_sub, ↓reduceIte]
-h    rw [ih v rest h.1]
-    simp only [length_append_sub, ↓reduceIte]
-
-    rw [ih v rest h.1]
-    simp only [length_append_sub, ↓reduceIte]
-     rw [ih v rest h.1]
-    simp only [length_append_sub, ↓reduceIte]
-     rw [ih v rest h.1]
-    simp only [length_append_sub, ↓reduceIte]
-|    rw [ih v rest h.1]
-    simp only [length_append_sub, ↓reduceIte]
-     rw [ih v rest h.1]
-    simp only [length_append_sub, ↓reduceIte]
-n    rw [ih v rest h.1]
-    simp only [length_append_sub, ↓reduceIte]
-i    rw [ih v rest h.1]
-    simp only [length_append_sub, ↓reduceIte]
-l    rw [ih v rest h.1]
-    simp only [length_append_sub, ↓reduceIte]
-     rw [ih v rest h.1]
-    simp only [length_append_sub, ↓reduceIte]
-=    rw [ih v rest h.1]
-    simp only [length_append_sub, ↓reduceIte]
->    rw [ih v rest h.1]
-    simp only [length_append_sub, ↓reduceIte]
-     rw [ih v rest h.1]
-    simp only [length_append_sub, ↓reduceIte]
-s    rw [ih v rest h.1]
-    simp only [length_append_sub, ↓reduceIte]
-i    rw [ih v rest h.1]
-    simp only [length_append_sub, ↓reduceIte]
-m    rw [ih v rest h.1]
-    simp only [length_append_sub, ↓reduceIte]
-p    rw [ih v rest h.1]
-    simp only [length_append_sub, ↓reduceIte]
-     rw [ih v rest h.1]
-    simp only [length_append_sub, ↓reduceIte]
-[    rw [ih v rest h.1]
-    simp only [length_append_sub, ↓reduceIte]
-d    rw [ih v rest h.1]
-    simp only [length_append_sub, ↓reduceIte]
-e    rw [ih v rest h.1]
-    simp only [length_append_sub, ↓reduceIte]
-c    rw [ih v rest h.1]
-    simp only [length_append_sub, ↓reduceIte]
-M    rw [ih v rest h.1]
-    simp only [length_append_sub, ↓reduceIte]
-a    rw [ih v rest h.1]
-    simp only [length_append_sub, ↓reduceIte]
-n    rw [ih v rest h.1]
-    simp only [length_append_sub, ↓reduceIte]
-y    rw [ih v rest h.1]
-    simp only [length_append_sub, ↓reduceIte]
-]    rw [ih v rest h.1]
-    simp only [length_append_sub, ↓reduceIte]
-
-    rw [ih v rest h.1]
-    simp only [length_append_sub, ↓reduceIte]
-     rw [ih v rest h.1]
-    simp only [length_append_sub, ↓reduceIte]
-     rw [ih v rest h.1]
-    simp only [length_append_sub, ↓reduceIte]
-|    rw [ih v rest h.1]
-    simp only [length_append_sub, ↓reduceIte]
-     rw [ih v rest h.1]
-    simp only [length_append_sub, ↓reduceIte]
-c    rw [ih v rest h.1]
-    simp only [length_append_sub, ↓reduceIte]
-o    rw [ih v rest h.1]
-    simp only [length_append_sub, ↓reduceIte]
-n    rw [ih v rest h.1]
-    simp only [length_append_sub, ↓reduceIte]
-s    rw [ih v rest h.1]
-    simp only [length_append_sub, ↓reduceIte]
-     rw [ih v rest h.1]
-    simp only [length_append_sub, ↓reduceIte]
-v    rw [ih v rest h.1]
-    simp only [length_append_sub, ↓reduceIte]
-     rw [ih v rest h.1]
-    simp only [length_append_sub, ↓reduceIte]
-v    rw [ih v rest h.1]
-    simp only [length_append_sub, ↓reduceIte]
-s    rw [ih v rest h.1]
-    simp only [length_append_sub, ↓reduceIte]
-     rw [ih v rest h.1]
-    simp only [length_append_sub, ↓reduceIte]
-i    rw [ih v rest h.1]
-    simp only [length_append_sub, ↓reduceIte]
-h    rw [ih v rest h.1]
-    simp only [length_append_sub, ↓reduceIte]
-     rw [ih v rest h.1]
-    simp only [length_append_sub, ↓reduceIte]
-=    rw [ih v rest h.1]
-    simp only [length_append_sub, ↓reduceIte]
->    rw [ih v rest h.1]
-    simp only [length_append_sub, ↓reduceIte]
-
-    rw [ih v rest h.1]
-    simp only [length_append_sub, ↓reduceIte]
-     rw [ih v rest h.1]
-    simp only [length_append_sub, ↓reduceIte]
-     rw [ih v rest h.1]
-    simp only [length_append_sub, ↓reduceIte]
-     rw [ih v rest h.1]
-    simp only [length_append_sub, ↓reduceIte]
-     rw [ih v rest h.1]
-    simp only [length_append_sub, ↓reduceIte]
-s    rw [ih v rest h.1]
-    simp only [length_append_sub, ↓reduceIte]
-i    rw [ih v rest h.1]
-    simp only [length_append_sub, ↓reduceIte]
-m    rw [ih v rest h.1]
-    simp only [length_append_sub, ↓reduceIte]
-p    rw [ih v rest h.1]
-    simp only [length_append_sub, ↓reduceIte]
-     rw [ih v rest h.1]
-    simp only [length_append_sub, ↓reduceIte]
-o    rw [ih v rest h.1]
-    simp only [length_append_sub, ↓reduceIte]
-n    rw [ih v rest h.1]
-    simp only [length_append_sub, ↓reduceIte]
-l    rw [ih v rest h.1]
-    simp only [length_append_sub, ↓reduceIte]
-y    rw [ih v rest h.1]
-    simp only [length_append_sub, ↓reduceIte]
-     rw [ih v rest h.1]
-    simp only [length_append_sub, ↓reduceIte]
-[    rw [ih v rest h.1]
-    simp only [length_append_sub, ↓reduceIte]
-L    rw [ih v rest h.1]
-    simp only [length_append_sub, ↓reduceIte]
-i    rw [ih v rest h.1]
-    simp only [length_append_sub, ↓reduceIte]
-s    rw [ih v rest h.1]
-    simp only [length_append_sub, ↓reduceIte]
-t    rw [ih v rest h.1]
-    simp only [length_append_sub, ↓reduceIte]
-.    rw [ih v rest h.1]
-    simp only [length_append_sub, ↓reduceIte]
-m    rw [ih v rest h.1]
-    simp only [length_append_sub, ↓reduceIte]
-a    rw [ih v rest h.1]
-    simp only [length_append_sub, ↓reduceIte]
-p    rw [ih v rest h.1]
-    simp only [length_append_sub, ↓reduceIte]
-_    rw [ih v rest h.1]
-    simp only [length_append_sub, ↓reduceIte]
-c    rw [ih v rest h.1]
-    simp only [length_append_sub, ↓reduceIte]
-o    rw [ih v rest h.1]
-    simp only [length_append_sub, ↓reduceIte]
-n    rw [ih v rest h.1]
-    simp only [length_append_sub, ↓reduceIte]
-s    rw [ih v rest h.1]
-    simp only [length_append_sub, ↓reduceIte]
-,    rw [ih v rest h.1]
-    simp only [length_append_sub, ↓reduceIte]
-     rw [ih v rest h.1]
-    simp only [length_append_sub, ↓reduceIte]
-L    rw [ih v rest h.1]
-    simp only [length_append_sub, ↓reduceIte]
-i    rw [ih v rest h.1]
-    simp only [length_append_sub, ↓reduceIte]
-s    rw [ih v rest h.1]
-    simp only [length_append_sub, ↓reduceIte]
-t    rw [ih v rest h.1]
-    simp only [length_append_sub, ↓reduceIte]
-.    rw [ih v rest h.1]
-    simp only [length_append_sub, ↓reduceIte]
-f    rw [ih v rest h.1]
-    simp only [length_append_sub, ↓reduceIte]
-l    rw [ih v rest h.1]
-    simp only [length_append_sub, ↓reduceIte]
-a    rw [ih v rest h.1]
-    simp only [length_append_sub, ↓reduceIte]
-t    rw [ih v rest h.1]
-    simp only [length_append_sub, ↓reduceIte]
-t    rw [ih v rest h.1]
-    simp only [length_append_sub, ↓reduceIte]
-e    rw [ih v rest h.1]
-    simp only [length_append_sub, ↓reduceIte]
-n    rw [ih v rest h.1]
-    simp only [length_append_sub, ↓reduceIte]
-_    rw [ih v rest h.1]
-    simp only [length_append_sub, ↓reduceIte]
-c    rw [ih v rest h.1]
-    simp only [length_append_sub, ↓reduceIte]
-o    rw [ih v rest h.1]
-    simp only [length_append_sub, ↓reduceIte]
-n    rw [ih v rest h.1]
-    simp only [length_append_sub, ↓reduceIte]
-s    rw [ih v rest h.1]
-    simp only [length_append_sub, ↓reduceIte]
-,    rw [ih v rest h.1]
-    simp only [length_append_sub, ↓reduceIte]
-     rw [ih v rest h.1]
-    simp only [length_append_sub, ↓reduceIte]
-L    rw [ih v rest h.1]
-    simp only [length_append_sub, ↓reduceIte]
-i    rw [ih v rest h.1]
-    simp only [length_append_sub, ↓reduceIte]
-s    rw [ih v rest h.1]
-    simp only [length_append_sub, ↓reduceIte]
-t    rw [ih v rest h.1]
-    simp only [length_append_sub, ↓reduceIte]
-.    rw [ih v rest h.1]
-    simp only [length_append_sub, ↓reduceIte]
-a    rw [ih v rest h.1]
-    simp only [length_append_sub, ↓reduceIte]
-p    rw [ih v rest h.1]
-    simp only [length_append_sub, ↓reduceIte]
-p    rw [ih v rest h.1]
-    simp only [length_append_sub, ↓reduceIte]
-e    rw [ih v rest h.1]
-    simp only [length_append_sub, ↓reduceIte]
-n    rw [ih v rest h.1]
-    simp only [length_append_sub, ↓reduceIte]
-d    rw [ih v rest h.1]
-    simp only [length_append_sub, ↓reduceIte]
-_    rw [ih v rest h.1]
-    simp only [length_append_sub, ↓reduceIte]
-a    rw [ih v rest h.1]
-    simp only [length_append_sub, ↓reduceIte]
-s    rw [ih v rest h.1]
-    simp only [length_append_sub, ↓reduceIte]
-s    rw [ih v rest h.1]
-    simp only [length_append_sub, ↓reduceIte]
-o    rw [ih v rest h.1]
-    simp only [length_append_sub, ↓reduceIte]
-c    rw [ih v rest h.1]
-    simp only [length_append_sub, ↓reduceIte]
-,    rw [ih v rest h.1]
-    simp only [length_append_sub, ↓reduceIte]
-     rw [ih v rest h.1]
-    simp only [length_append_sub, ↓reduceIte]
-L    rw [ih v rest h.1]
-    simp only [length_append_sub, ↓reduceIte]
-i    rw [ih v rest h.1]
-    simp only [length_append_sub, ↓reduceIte]
-s    rw [ih v rest h.1]
-    simp only [length_append_sub, ↓reduceIte]
-t    rw [ih v rest h.1]
-    simp only [length_append_sub, ↓reduceIte]
-.    rw [ih v rest h.1]
-    simp only [length_append_sub, ↓reduceIte]
-l    rw [ih v rest h.1]
-    simp only [length_append_sub, ↓reduceIte]
-e    rw [ih v rest h.1]
-    simp only [length_append_sub, ↓reduceIte]
-n    rw [ih v rest h.1]
-    simp only [length_append_sub, ↓reduceIte]
-g    rw [ih v rest h.1]
-    simp only [length_append_sub, ↓reduceIte]
-t    rw [ih v rest h.1]
-    simp only [length_append_sub, ↓reduceIte]
-h    rw [ih v rest h.1]
-    simp only [length_append_sub, ↓reduceIte]
-_    rw [ih v rest h.1]
-    simp only [length_append_sub, ↓reduceIte]
-c    rw [ih v rest h.1]
-    simp only [length_append_sub, ↓reduceIte]
-o    rw [ih v rest h.1]
-    simp only [length_append_sub, ↓reduceIte]
-n    rw [ih v rest h.1]
-    simp only [length_append_sub, ↓reduceIte]
-s    rw [ih v rest h.1]
-    simp only [length_append_sub, ↓reduceIte]
-,    rw [ih v rest h.1]
-    simp only [length_append_sub, ↓reduceIte]
-     rw [ih v rest h.1]
-    simp only [length_append_sub, ↓reduceIte]
-d    rw [ih v rest h.1]
-    simp only [length_append_sub, ↓reduceIte]
-e    rw [ih v rest h.1]
-    simp only [length_append_sub, ↓reduceIte]
-c    rw [ih v rest h.1]
-    simp only [length_append_sub, ↓reduceIte]
-M    rw [ih v rest h.1]
-    simp only [length_append_sub, ↓reduceIte]
-a    rw [ih v rest h.1]
-    simp only [length_append_sub, ↓reduceIte]
-n    rw [ih v rest h.1]
-    simp only [length_append_sub, ↓reduceIte]
-y    rw [ih v rest h.1]
-    simp only [length_append_sub, ↓reduceIte]
-]    rw [ih v rest h.1]
-    simp only [length_append_sub, ↓reduceIte]
-
-    rw [ih v rest h.1]
-    simp only [length_append_sub, ↓reduceIte]
-     rw [ih v rest h.1]
-    simp only [length_append_sub, ↓reduceIte]
-     rw [ih v rest h.1]
-    simp only [length_append_sub, ↓reduceIte]
-     rw [ih v rest h.1]
-    simp only [length_append_sub, ↓reduceIte]
-     rw [ih v rest h.1]
-    simp only [length_append_sub, ↓reduceIte]
-r    rw [ih v rest h.1]
-    simp only [length_append_sub, ↓reduceIte]
-w    rw [ih v rest h.1]
-    simp only [length_append_sub, ↓reduceIte]
-     rw [ih v rest h.1]
-    simp only [length_append_sub, ↓reduceIte]
-[    rw [ih v rest h.1]
-    simp only [length_append_sub, ↓reduceIte]
-h    rw [ih v rest h.1]
-    simp only [length_append_sub, ↓reduceIte]
-     rw [ih v rest h.1]
-    simp only [length_append_sub, ↓reduceIte]
-v    rw [ih v rest h.1]
-    simp only [length_append_sub, ↓reduceIte]
-     rw [ih v rest h.1]
-    simp only [length_append_sub, ↓reduceIte]
-L    rw [ih v rest h.1]
-    simp only [length_append_sub, ↓reduceIte]
-i    rw [ih v rest h.1]
-    simp only [length_append_sub, ↓reduceIte]
-s    rw [ih v rest h.1]
-    simp only [length_append_sub, ↓reduceIte]
-t    rw [ih v rest h.1]
-    simp only [length_append_sub, ↓reduceIte]
-.    rw [ih v rest h.1]
-    simp only [length_append_sub, ↓reduceIte]
-m    rw [ih v rest h.1]
-    simp only [length_append_sub, ↓reduceIte]
-e    rw [ih v rest h.1]
-    simp only [length_append_sub, ↓reduceIte]
-m    rw [ih v rest h.1]
-    simp only [length_append_sub, ↓reduceIte]
-_    rw [ih v rest h.1]
-    simp only [length_append_sub, ↓reduceIte]
-c    rw [ih v rest h.1]
-    simp only [length_append_sub, ↓reduceIte]
-o    rw [ih v rest h.1]
-    simp only [length_append_sub, ↓reduceIte]
-n    rw [ih v rest h.1]
-    simp only [length_append_sub, ↓reduceIte]
-s    rw [ih v rest h.1]
-    simp only [length_append_sub, ↓reduceIte]
-_    rw [ih v rest h.1]
-    simp only [length_append_sub, ↓reduceIte]
-s    rw [ih v rest h.1]
-    simp only [length_append_sub, ↓reduceIte]
-e    rw [ih v rest h.1]
-    simp only [length_append_sub, ↓reduceIte]
-l    rw [ih v rest h.1]
-    simp only [length_append_sub, ↓reduceIte]
-f    rw [ih v rest h.1]
-    simp only [length_append_sub, ↓reduceIte]
-]    rw [ih v rest h.1]
-    simp only [length_append_sub, ↓reduceIte]
-
-    rw [ih v rest h.1]
-    simp only [length_append_sub, ↓reduceIte]
-     rw [ih v rest h.1]
-    simp only [length_append_sub, ↓reduceIte]
-     rw [ih v rest h.1]
-    simp only [length_append_sub, ↓reduceIte]
-     rw [ih v rest h.1]
-    simp only [length_append_sub, ↓reduceIte]
-     rw [ih v rest h.1]
-    simp only [length_append_sub, ↓reduceIte]
-s    rw [ih v rest h.1]
-    simp only [length_append_sub, ↓reduceIte]
-i    rw [ih v rest h.1]
-    simp only [length_append_sub, ↓reduceIte]
-m    rw [ih v rest h.1]
-    simp only [length_append_sub, ↓reduceIte]
-p    rw [ih v rest h.1]
-    simp only [length_append_sub, ↓reduceIte]
-     rw [ih v rest h.1]
-    simp only [length_append_sub, ↓reduceIte]
-o    rw [ih v rest h.1]
-    simp only [length_append_sub, ↓reduceIte]
-n    rw [ih v rest h.1]
-    simp only [length_append_sub, ↓reduceIte]
-l    rw [ih v rest h.1]
-    simp only [length_append_sub, ↓reduceIte]
-y    rw [ih v rest h.1]
-    simp only [length_append_sub, ↓reduceIte]
-     rw [ih v rest h.1]
-    simp only [length_append_sub, ↓reduceIte]
-[    rw [ih v rest h.1]
-    simp only [length_append_sub, ↓reduceIte]
-]    rw [ih v rest h.1]
-    simp only [length_append_sub, ↓reduceIte]
-
-    rw [ih v rest h.1]
-    simp only [length_append_sub, ↓reduceIte]
-     rw [ih v rest h.1]
-    simp only [length_append_sub, ↓reduceIte]
-     rw [ih v rest h.1]
-    simp only [length_append_sub, ↓reduceIte]
-     rw [ih v rest h.1]
-    simp only [length_append_sub, ↓reduceIte]
-     rw [ih v rest h.1]
-    simp only [length_append_sub, ↓reduceIte]
-r    rw [ih v rest h.1]
-    simp only [length_append_sub, ↓reduceIte]
-w    rw [ih v rest h.1]
-    simp only [length_append_sub, ↓reduceIte]
-     rw [ih v rest h.1]
-    simp only [length_append_sub, ↓reduceIte]
-[    rw [ih v rest h.1]
-    simp only [length_append_sub, ↓reduceIte]
-i    rw [ih v rest h.1]
-    simp only [length_append_sub, ↓reduceIte]
-h    rw [ih v rest h.1]
-    simp only [length_append_sub, ↓reduceIte]
-     rw [ih v rest h.1]
-    simp only [length_append_sub, ↓reduceIte]
-(    rw [ih v rest h.1]
-    simp only [length_append_sub, ↓reduceIte]
-f    rw [ih v rest h.1]
-    simp only [length_append_sub, ↓reduceIte]
-u    rw [ih v rest h.1]
-    simp only [length_append_sub, ↓reduceIte]
-n    rw [ih v rest h.1]
-    simp only [length_append_sub, ↓reduceIte]
-     rw [ih v rest h.1]
-    simp only [length_append_sub, ↓reduceIte]
-x    rw [ih v rest h.1]
-    simp only [length_append_sub, ↓reduceIte]
-     rw [ih v rest h.1]
-    simp only [length_append_sub, ↓reduceIte]
-h    rw [ih v rest h.1]
-    simp only [length_append_sub, ↓reduceIte]
-x    rw [ih v rest h.1]
-    simp only [length_append_sub, ↓reduceIte]
-     rw [ih v rest h.1]
-    simp only [length_append_sub, ↓reduceIte]
-=    rw [ih v rest h.1]
-    simp only [length_append_sub, ↓reduceIte]
->    rw [ih v rest h.1]
-    simp only [length_append_sub, ↓reduceIte]
-     rw [ih v rest h.1]
-    simp only [length_append_sub, ↓reduceIte]
-h    rw [ih v rest h.1]
-    simp only [length_append_sub, ↓reduceIte]
-     rw [ih v rest h.1]
-    simp only [length_append_sub, ↓reduceIte]
-x    rw [ih v rest h.1]
-    simp only [length_append_sub, ↓reduceIte]
-     rw [ih v rest h.1]
-    simp only [length_append_sub, ↓reduceIte]
-(    rw [ih v rest h.1]
-    simp only [length_append_sub, ↓reduceIte]
-L    rw [ih v rest h.1]
-    simp only [length_append_sub, ↓reduceIte]
-i    rw [ih v rest h.1]
-    simp only [length_append_sub, ↓reduceIte]
-s    rw [ih v rest h.1]
-    simp only [length_append_sub, ↓reduceIte]
-t    rw [ih v rest h.1]
-    simp only [length_append_sub, ↓reduceIte]
-.    rw [ih v rest h.1]
-    simp only [length_append_sub, ↓reduceIte]
-m    rw [ih v rest h.1]
-    simp only [length_append_sub, ↓reduceIte]
-e    rw [ih v rest h.1]
-    simp only [length_append_sub, ↓reduceIte]
-m    rw [ih v rest h.1]
-    simp only [length_append_sub, ↓reduceIte]
-_    rw [ih v rest h.1]
-    simp only [length_append_sub, ↓reduceIte]
-c    rw [ih v rest h.1]
-    simp only [length_append_sub, ↓reduceIte]
-o    rw [ih v rest h.1]
-    simp only [length_append_sub, ↓reduceIte]
-n    rw [ih v rest h.1]
-    simp only [length_append_sub, ↓reduceIte]
-s    rw [ih v rest h.1]
-    simp only [length_append_sub, ↓reduceIte]
-_    rw [ih v rest h.1]
-    simp only [length_append_sub, ↓reduceIte]
-o    rw [ih v rest h.1]
-    simp only [length_append_sub, ↓reduceIte]
-f    rw [ih v rest h.1]
-    simp only [length_append_sub, ↓reduceIte]
-_    rw [ih v rest h.1]
-    simp only [length_append_sub, ↓reduceIte]
-m    rw [ih v rest h.1]
-    simp only [length_append_sub, ↓reduceIte]
-e    rw [ih v rest h.1]
-    simp only [length_append_sub, ↓reduceIte]
-m    rw [ih v rest h.1]
-    simp only [length_append_sub, ↓reduceIte]
-     rw [ih v rest h.1]
-    simp only [length_append_sub, ↓reduceIte]
-_    rw [ih v rest h.1]
-    simp only [length_append_sub, ↓reduceIte]
-     rw [ih v rest h.1]
-    simp only [length_append_sub, ↓reduceIte]
-h    rw [ih v rest h.1]
-    simp only [length_append_sub, ↓reduceIte]
-x    rw [ih v rest h.1]
-    simp only [length_append_sub, ↓reduceIte]
-)    rw [ih v rest h.1]
-    simp only [length_append_sub, ↓reduceIte]
-)    rw [ih v rest h.1]
-    simp only [length_append_sub, ↓reduceIte]
-]    rw [ih v rest h.1]
-    simp only [length_append_sub, ↓reduceIte]
-
-    rw [ih v rest h.1]
-    simp only [length_append_sub, ↓reduceIte]
-
-    rw [ih v rest h.1]
-    simp only [length_append_sub, ↓reduceIte]
-t    rw [ih v rest h.1]
-    simp only [length_append_sub, ↓reduceIte]
-h    rw [ih v rest h.1]
-    simp only [length_append_sub, ↓reduceIte]
-e    rw [ih v rest h.1]
-    simp only [length_append_sub, ↓reduceIte]
-o    rw [ih v rest h.1]
-    simp only [length_append_sub, ↓reduceIte]
-r    rw [ih v rest h.1]
-    simp only [length_append_sub, ↓reduceIte]
-e    rw [ih v rest h.1]
-    simp only [length_append_sub, ↓reduceIte]
-m    rw [ih v rest h.1]
-    simp only [length_append_sub, ↓reduceIte]
-     rw [ih v rest h.1]
-    simp only [length_append_sub, ↓reduceIte]
-l    rw [ih v rest h.1]
-    simp only [length_append_sub, ↓reduceIte]
-e    rw [ih v rest h.1]
-    simp only [length_append_sub, ↓reduceIte]
-n    rw [ih v rest h.1]
-    simp only [length_append_sub, ↓reduceIte]
-g    rw [ih v rest h.1]
-    simp only [length_append_sub, ↓reduceIte]
-t    rw [ih v rest h.1]
-    simp only [length_append_sub, ↓reduceIte]
-h    rw [ih v rest h.1]
-    simp only [length_append_sub, ↓reduceIte]
-_    rw [ih v rest h.1]
-    simp only [length_append_sub, ↓reduceIte]
-a    rw [ih v rest h.1]
-    simp only [length_append_sub, ↓reduceIte]
-p    rw [ih v rest h.1]
-    simp only [length_append_sub, ↓reduceIte]
-p    rw [ih v rest h.1]
-    simp only [length_append_sub, ↓reduceIte]
-e    rw [ih v rest h.1]
-    simp only [length_append_sub, ↓reduceIte]
-n    rw [ih v rest h.1]
-    simp only [length_append_sub, ↓reduceIte]
-d    rw [ih v rest h.1]
-    simp only [length_append_sub, ↓reduceIte]
-_    rw [ih v rest h.1]
-    simp only [length_append_sub, ↓reduceIte]
-s    rw [ih v rest h.1]
-    simp only [length_append_sub, ↓reduceIte]
-u    rw [ih v rest h.1]
-    simp only [length_append_sub, ↓reduceIte]
-b    rw [ih v rest h.1]
-    simp only [length_append_sub, ↓reduceIte]
-     rw [ih v rest h.1]
-    simp only [length_append_sub, ↓reduceIte]
-(    rw [ih v rest h.1]
-    simp only [length_append_sub, ↓reduceIte]
-a    rw [ih v rest h.1]
-    simp only [length_append_sub, ↓reduceIte]
-     rw [ih v rest h.1]
-    simp only [length_append_sub, ↓reduceIte]
-r    rw [ih v rest h.1]
-    simp only [length_append_sub, ↓reduceIte]
-e    rw [ih v rest h.1]
-    simp only [length_append_sub, ↓reduceIte]
-s    rw [ih v rest h.1]
-    simp only [length_append_sub, ↓reduceIte]
-t    rw [ih v rest h.1]
-    simp only [length_append_sub, ↓reduceIte]
-     rw [ih v rest h.1]
-    simp only [length_append_sub, ↓reduceIte]
-:    rw [ih v rest h.1]
-    simp only [length_append_sub, ↓reduceIte]
-     rw [ih v rest h.1]
-    simp only [length_append_sub, ↓reduceIte]
-B    rw [ih v rest h.1]
-    simp only [length_append_sub, ↓reduceIte]
-y    rw [ih v rest h.1]
-    simp only [length_append_sub, ↓reduceIte]
-t    rw [ih v rest h.1]
-    simp only [length_append_sub, ↓reduceIte]
-e    rw [ih v rest h.1]
-    simp only [length_append_sub, ↓reduceIte]
-s    rw [ih v rest h.1]
-    simp only [length_append_sub, ↓reduceIte]
-)    rw [ih v rest h.1]
-    simp only [length_append_sub, ↓reduceIte]
-     rw [ih v rest h.1]
-    simp only [length_append_sub, ↓reduceIte]
-:    rw [ih v rest h.1]
-    simp only [length_append_sub, ↓reduceIte]
-     rw [ih v rest h.1]
-    simp only [length_append_sub, ↓reduceIte]
-(    rw [ih v rest h.1]
-    simp only [length_append_sub, ↓reduceIte]
-a    rw [ih v rest h.1]
-    simp only [length_append_sub, ↓reduceIte]
-     rw [ih v rest h.1]
-    simp only [length_append_sub, ↓reduceIte]
-+    rw [ih v rest h.1]
-    simp only [length_append_sub, ↓reduceIte]
-+    rw [ih v rest h.1]
-    simp only [length_append_sub, ↓reduceIte]
-     rw [ih v rest h.1]
-    simp only [length_append_sub, ↓reduceIte]
-r    rw [ih v rest h.1]
-    simp only [length_append_sub, ↓reduceIte]
-e    rw [ih v rest h.1]
-    simp only [length_append_sub, ↓reduceIte]
-s    rw [ih v rest h.1]
-    simp only [length_append_sub, ↓reduceIte]
-t    rw [ih v rest h.1]
-    simp only [length_append_sub, ↓reduceIte]
-)    rw [ih v rest h.1]
-    simp only [length_append_sub, ↓reduceIte]
-.    rw [ih v rest h.1]
-    simp only [length_append_sub, ↓reduceIte]
-l    rw [ih v rest h.1]
-    simp only [length_append_sub, ↓reduceIte]
-e    rw [ih v rest h.1]
-    simp only [length_append_sub, ↓reduceIte]
-n    rw [ih v rest h.1]
-    simp only [length_append_sub, ↓reduceIte]
-g    rw [ih v rest h.1]
-    simp only [length_append_sub, ↓reduceIte]
-t    rw [ih v rest h.1]
-    simp only [length_append_sub, ↓reduceIte]
-h    rw [ih v rest h.1]
-    simp only [length_append_sub, ↓reduceIte]
-     rw [ih v rest h.1]
-    simp only [length_append_sub, ↓reduceIte]
--    rw [ih v rest h.1]
-    simp only [length_append_sub, ↓reduceIte]
-     rw [ih v rest h.1]
-    simp only [length_append_sub, ↓reduceIte]
-r    rw [ih v rest h.1]
-    simp only [length_append_sub, ↓reduceIte]
-e    rw [ih v rest h.1]
-    simp only [length_append_sub, ↓reduceIte]
-s    rw [ih v rest h.1]
-    simp only [length_append_sub, ↓reduceIte]
-t    rw [ih v rest h.1]
-    simp only [length_append_sub, ↓reduceIte]
-.    rw [ih v rest h.1]
-    simp only [length_append_sub, ↓reduceIte]
-l    rw [ih v rest h.1]
-    simp only [length_append_sub, ↓reduceIte]
-e    rw [ih v rest h.1]
-    simp only [length_append_sub, ↓reduceIte]
-n    rw [ih v rest h.1]
-    simp only [length_append_sub, ↓reduceIte]
-g    rw [ih v rest h.1]
-    simp only [length_append_sub, ↓reduceIte]
-t    rw [ih v rest h.1]
-    simp only [length_append_sub, ↓reduceIte]
-h    rw [ih v rest h.1]
-    simp only [length_append_sub, ↓reduceIte]
-     rw [ih v rest h.1]
-    simp only [length_append_sub, ↓reduceIte]
-=    rw [ih v rest h.1]
-    simp only [length_append_sub, ↓reduceIte]
-     rw [ih v rest h.1]
-    simp only [length_append_sub, ↓reduceIte]
-a    rw [ih v rest h.1]
-    simp only [length_append_sub, ↓reduceIte]
-.    rw [ih v rest h.1]
-    simp only [length_append_sub, ↓reduceIte]
-l    rw [ih v rest h.1]
-    simp only [length_append_sub, ↓reduceIte]
-e    rw [ih v rest h.1]
-    simp only [length_append_sub, ↓reduceIte]
-n    rw [ih v rest h.1]
-    simp only [length_append_sub, ↓reduceIte]
-g    rw [ih v rest h.1]
-    simp only [length_append_sub, ↓reduceIte]
-t    rw [ih v rest h.1]
-    simp only [length_append_sub, ↓reduceIte]
-h    rw [ih v rest h.1]
-    simp only [length_append_sub, ↓reduceIte]
-     rw [ih v rest h.1]
-    simp only [length_append_sub, ↓reduceIte]
-:    rw [ih v rest h.1]
-    simp only [length_append_sub, ↓reduceIte]
-=    rw [ih v rest h.1]
-    simp only [length_append_sub, ↓reduceIte]
-     rw [ih v rest h.1]
-    simp only [length_append_sub, ↓reduceIte]
-b    rw [ih v rest h.1]
-    simp only [length_append_sub, ↓reduceIte]
-y    rw [ih v rest h.1]
-    simp only [length_append_sub, ↓reduceIte]
-
-    rw [ih v rest h.1]
-    simp only [length_append_sub, ↓reduceIte]
-     rw [ih v rest h.1]
-    simp only [length_append_sub, ↓reduceIte]
-     rw [ih v rest h.1]
-    simp only [length_append_sub, ↓reduceIte]
-s    rw [ih v rest h.1]
-    simp only [length_append_sub, ↓reduceIte]
-i    rw [ih v rest h.1]
-    simp only [length_append_sub, ↓reduceIte]
-m    rw [ih v rest h.1]
-    simp only [length_append_sub, ↓reduceIte]
-p    rw [ih v rest h.1]
-    simp only [length_append_sub, ↓reduceIte]
-     rw [ih v rest h.1]
-    simp only [length_append_sub, ↓reduceIte]
-o    rw [ih v rest h.1]
-    simp only [length_append_sub, ↓reduceIte]
-n    rw [ih v rest h.1]
-    simp only [length_append_sub, ↓reduceIte]
-l    rw [ih v rest h.1]
-    simp only [length_append_sub, ↓reduceIte]
-y    rw [ih v rest h.1]
-    simp only [length_append_sub, ↓reduceIte]
-     rw [ih v rest h.1]
-    simp only [length_append_sub, ↓reduceIte]
-[    rw [ih v rest h.1]
-    simp only [length_append_sub, ↓reduceIte]
-L    rw [ih v rest h.1]
-    simp only [length_append_sub, ↓reduceIte]
-i    rw [ih v rest h.1]
-    simp only [length_append_sub, ↓reduceIte]
-s    rw [ih v rest h.1]
-    simp only [length_append_sub, ↓reduceIte]
-t    rw [ih v rest h.1]
-    simp only [length_append_sub, ↓reduceIte]
-.    rw [ih v rest h.1]
-    simp only [length_append_sub, ↓reduceIte]
-l    rw [ih v rest h.1]
-    simp only [length_append_sub, ↓reduceIte]
-e    rw [ih v rest h.1]
-    simp only [length_append_sub, ↓reduceIte]
-n    rw [ih v rest h.1]
-    simp only [length_append_sub, ↓reduceIte]
-g    rw [ih v rest h.1]
-    simp only [length_append_sub, ↓reduceIte]
-t    rw [ih v rest h.1]
-    simp only [length_append_sub, ↓reduceIte]
-h    rw [ih v rest h.1]
-    simp only [length_append_sub, ↓reduceIte]
-_    rw [ih v rest h.1]
-    simp only [length_append_sub, ↓reduceIte]
-a    rw [ih v rest h.1]
-    simp only [length_append_sub, ↓reduceIte]
-p    rw [ih v rest h.1]
-    simp only [length_append_sub, ↓reduceIte]
-p    rw [ih v rest h.1]
-    simp only [length_append_sub, ↓reduceIte]
-e    rw [ih v rest h.1]
-    simp only [length_append_sub, ↓reduceIte]
-n    rw [ih v rest h.1]
-    simp only [length_append_sub, ↓reduceIte]
-d    rw [ih v rest h.1]
-    simp only [length_append_sub, ↓reduceIte]
-]    rw [ih v rest h.1]
-    simp only [length_append_sub, ↓reduceIte]
-;    rw [ih v rest h.1]
-    simp only [length_append_sub, ↓reduceIte]
-     rw [ih v rest h.1]
-    simp only [length_append_sub, ↓reduceIte]
-o    rw [ih v rest h.1]
-    simp only [length_append_sub, ↓reduceIte]
-m    rw [ih v rest h.1]
-    simp only [length_append_sub, ↓reduceIte]
-e    rw [ih v rest h.1]
-    simp only [length_append_sub, ↓reduceIte]
-g    rw [ih v rest h.1]
-    simp only [length_append_sub, ↓reduceIte]
-a    rw [ih v rest h.1]
-    simp only [length_append_sub, ↓reduceIte]
-
-    rw [ih v rest h.1]
-    simp only [length_append_sub, ↓reduceIte]
-
-    rw [ih v rest h.1]
-    simp only [length_append_sub, ↓reduceIte]
-/    rw [ih v rest h.1]
-    simp only [length_append_sub, ↓reduceIte]
--    rw [ih v rest h.1]
-    simp only [length_append_sub, ↓reduceIte]
--    rw [ih v rest h.1]
-    simp only [length_append_sub, ↓reduceIte]
-     rw [ih v rest h.1]
-    simp only [length_append_sub, ↓reduceIte]
-G    rw [ih v rest h.1]
-    simp only [length_append_sub, ↓reduceIte]
-T    rw [ih v rest h.1]
-    simp only [length_append_sub, ↓reduceIte]
-:    rw [ih v rest h.1]
-    simp only [length_append_sub, ↓reduceIte]
-     rw [ih v rest h.1]
-    simp only [length_append_sub, ↓reduceIte]
-d    rw [ih v rest h.1]
-    simp only [length_append_sub, ↓reduceIte]
-e    rw [ih v rest h.1]
-    simp only [length_append_sub, ↓reduceIte]
-c    rw [ih v rest h.1]
-    simp only [length_append_sub, ↓reduceIte]
-o    rw [ih v rest h.1]
-    simp only [length_append_sub, ↓reduceIte]
-d    rw [ih v rest h.1]
-    simp only [length_append_sub, ↓reduceIte]
-i    rw [ih v rest h.1]
-    simp only [length_append_sub, ↓reduceIte]
-n    rw [ih v rest h.1]
-    simp only [length_append_sub, ↓reduceIte]
-g    rw [ih v rest h.1]
-    simp only [length_append_sub, ↓reduceIte]
-     rw [ih v rest h.1]
-    simp only [length_append_sub, ↓reduceIte]
-w    rw [ih v rest h.1]
-    simp only [length_append_sub, ↓reduceIte]
-h    rw [ih v rest h.1]
-    simp only [length_append_sub, ↓reduceIte]
-a    rw [ih v rest h.1]
-    simp only [length_append_sub, ↓reduceIte]
-t    rw [ih v rest h.1]
-    simp only [length_append_sub, ↓reduceIte]
-     rw [ih v rest h.1]
-    simp only [length_append_sub, ↓reduceIte]
-w    rw [ih v rest h.1]
-    simp only [length_append_sub, ↓reduceIte]
-a    rw [ih v rest h.1]
-    simp only [length_append_sub, ↓reduceIte]
-s    rw [ih v rest h.1]
-    simp only [length_append_sub, ↓reduceIte]
-     rw [ih v rest h.1]
-    simp only [length_append_sub, ↓reduceIte]
-e    rw [ih v rest h.1]
-    simp only [length_append_sub, ↓reduceIte]
-n    rw [ih v rest h.1]
-    simp only [length_append_sub, ↓reduceIte]
-c    rw [ih v rest h.1]
-    simp only [length_append_sub, ↓reduceIte]
-o    rw [ih v rest h.1]
-    simp only [length_append_sub, ↓reduceIte]
-d    rw [ih v rest h.1]
-    simp only [length_append_sub, ↓reduceIte]
-e    rw [ih v rest h.1]
-    simp only [length_append_sub, ↓reduceIte]
-d    rw [ih v rest h.1]
-    simp only [length_append_sub, ↓reduceIte]
-     rw [ih v rest h.1]
-    simp only [length_append_sub, ↓reduceIte]
-(    rw [ih v rest h.1]
-    simp only [length_append_sub, ↓reduceIte]
-f    rw [ih v rest h.1]
-    simp only [length_append_sub, ↓reduceIte]
-o    rw [ih v rest h.1]
-    simp only [length_append_sub, ↓reduceIte]
-l    rw [ih v rest h.1]
-    simp only [length_append_sub, ↓reduceIte]
-l    rw [ih v rest h.1]
-    simp only [length_append_sub, ↓reduceIte]
-o    rw [ih v rest h.1]
-    simp only [length_append_sub, ↓reduceIte]
-w    rw [ih v rest h.1]
-    simp only [length_append_sub, ↓reduceIte]
-e    rw [ih v rest h.1]
-    simp only [length_append_sub, ↓reduceIte]
-d    rw [ih v rest h.1]
-    simp only [length_append_sub, ↓reduceIte]
-     rw [ih v rest h.1]
-    simp only [length_append_sub, ↓reduceIte]
-b    rw [ih v rest h.1]
-    simp only [length_append_sub, ↓reduceIte]
-y    rw [ih v rest h.1]
-    simp only [length_append_sub, ↓reduceIte]
-     rw [ih v rest h.1]
-    simp only [length_append_sub, ↓reduceIte]
-a    rw [ih v rest h.1]
-    simp only [length_append_sub, ↓reduceIte]
-n    rw [ih v rest h.1]
-    simp only [length_append_sub, ↓reduceIte]
-y    rw [ih v rest h.1]
-    simp only [length_append_sub, ↓reduceIte]
-t    rw [ih v rest h.1]
-    simp only [length_append_sub, ↓reduceIte]
-h    rw [ih v rest h.1]
-    simp only [length_append_sub, ↓reduceIte]
-i    rw [ih v rest h.1]
-    simp only [length_append_sub, ↓reduceIte]
-n    rw [ih v rest h.1]
-    simp only [length_append_sub, ↓reduceIte]
-g    rw [ih v rest h.1]
-    simp only [length_append_sub, ↓reduceIte]
-)    rw [ih v rest h.1]
-    simp only [length_append_sub, ↓reduceIte]
-     rw [ih v rest h.1]
-    simp only [length_append_sub, ↓reduceIte]
-g    rw [ih v rest h.1]
-    simp only [length_append_sub, ↓reduceIte]
-i    rw [ih v rest h.1]
-    simp only [length_append_sub, ↓reduceIte]
-v    rw [ih v rest h.1]
-    simp only [length_append_sub, ↓reduceIte]
-e    rw [ih v rest h.1]
-    simp only [length_append_sub, ↓reduceIte]
-s    rw [ih v rest h.1]
-    simp only [length_append_sub, ↓reduceIte]
-     rw [ih v rest h.1]
-    simp only [length_append_sub, ↓reduceIte]
-t    rw [ih v rest h.1]
-    simp only [length_append_sub, ↓reduceIte]
-h    rw [ih v rest h.1]
-    simp only [length_append_sub, ↓reduceIte]
-e    rw [ih v rest h.1]
-    simp only [length_append_sub, ↓reduceIte]
-     rw [ih v rest h.1]
-    simp only [length_append_sub, ↓reduceIte]
-v    rw [ih v rest h.1]
-    simp only [length_append_sub, ↓reduceIte]
-a    rw [ih v rest h.1]
-    simp only [length_append_sub, ↓reduceIte]
-l    rw [ih v rest h.1]
-    simp only [length_append_sub, ↓reduceIte]
-u    rw [ih v rest h.1]
-    simp only [length_append_sub, ↓reduceIte]
-e    rw [ih v rest h.1]
-    simp only [length_append_sub, ↓reduceIte]
-     rw [ih v rest h.1]
-    simp only [length_append_sub, ↓reduceIte]
-b    rw [ih v rest h.1]
-    simp only [length_append_sub, ↓reduceIte]
-a    rw [ih v rest h.1]
-    simp only [length_append_sub, ↓reduceIte]
-c    rw [ih v rest h.1]
-    simp only [length_append_sub, ↓reduceIte]
-k    rw [ih v rest h.1]
-    simp only [length_append_sub, ↓reduceIte]
-     rw [ih v rest h.1]
-    simp only [length_append_sub, ↓reduceIte]
-a    rw [ih v rest h.1]
-    simp only [length_append_sub, ↓reduceIte]
-n    rw [ih v rest h.1]
-    simp only [length_append_sub, ↓reduceIte]
-d    rw [ih v rest h.1]
-    simp only [length_append_sub, ↓reduceIte]
-     rw [ih v rest h.1]
-    simp only [length_append_sub, ↓reduceIte]
-l    rw [ih v rest h.1]
-    simp only [length_append_sub, ↓reduceIte]
-e    rw [ih v rest h.1]
-    simp only [length_append_sub, ↓reduceIte]
-a    rw [ih v rest h.1]
-    simp only [length_append_sub, ↓reduceIte]
-v    rw [ih v rest h.1]
-    simp only [length_append_sub, ↓reduceIte]
-e    rw [ih v rest h.1]
-    simp only [length_append_sub, ↓reduceIte]
-s    rw [ih v rest h.1]
-    simp only [length_append_sub, ↓reduceIte]
-     rw [ih v rest h.1]
-    simp only [length_append_sub, ↓reduceIte]
-t    rw [ih v rest h.1]
-    simp only [length_append_sub, ↓reduceIte]
-h    rw [ih v rest h.1]
-    simp only [length_append_sub, ↓reduceIte]
-e    rw [ih v rest h.1]
-    simp only [length_append_sub, ↓reduceIte]
-     rw [ih v rest h.1]
-    simp only [length_append_sub, ↓reduceIte]
-r    rw [ih v rest h.1]
-    simp only [length_append_sub, ↓reduceIte]
-e    rw [ih v rest h.1]
-    simp only [length_append_sub, ↓reduceIte]
-s    rw [ih v rest h.1]
-    simp only [length_append_sub, ↓reduceIte]
-t    rw [ih v rest h.1]
-    simp only [length_append_sub, ↓reduceIte]
-     rw [ih v rest h.1]
-    simp only [length_append_sub, ↓reduceIte]
--    rw [ih v rest h.1]
-    simp only [length_append_sub, ↓reduceIte]
-/    rw [ih v rest h.1]
-    simp only [length_append_sub, ↓reduceIte]
-
-    rw [ih v rest h.1]
-    simp only [length_append_sub, ↓reduceIte]
-t    rw [ih v rest h.1]
-    simp only [length_append_sub, ↓reduceIte]
-h    rw [ih v rest h.1]
-    simp only [length_append_sub, ↓reduceIte]
-e    rw [ih v rest h.1]
-    simp only [length_append_sub, ↓reduceIte]
-o    rw [ih v rest h.1]
-    simp only [length_append_sub, ↓reduceIte]
-r    rw [ih v rest h.1]
-    simp only [length_append_sub, ↓reduceIte]
-e    rw [ih v rest h.1]
-    simp only [length_append_sub, ↓reduceIte]
-m    rw [ih v rest h.1]
-    simp only [length_append_sub, ↓reduceIte]
-     rw [ih v rest h.1]
-    simp only [length_append_sub, ↓reduceIte]
-d    rw [ih v rest h.1]
-    simp only [length_append_sub, ↓reduceIte]
-e    rw [ih v rest h.1]
-    simp only [length_append_sub, ↓reduceIte]
-c    rw [ih v rest h.1]
-    simp only [length_append_sub, ↓reduceIte]
-_    rw [ih v rest h.1]
-    simp only [length_append_sub, ↓reduceIte]
-e    rw [ih v rest h.1]
-    simp only [length_append_sub, ↓reduceIte]
-n    rw [ih v rest h.1]
-    simp only [length_append_sub, ↓reduceIte]
-c    rw [ih v rest h.1]
-    simp only [length_append_sub, ↓reduceIte]
-     rw [ih v rest h.1]
-    simp only [length_append_sub, ↓reduceIte]
-(    rw [ih v rest h.1]
-    simp only [length_append_sub, ↓reduceIte]
-f    rw [ih v rest h.1]
-    simp only [length_append_sub, ↓reduceIte]
-     rw [ih v rest h.1]
-    simp only [length_append_sub, ↓reduceIte]
-:    rw [ih v rest h.1]
-    simp only [length_append_sub, ↓reduceIte]
-     rw [ih v rest h.1]
-    simp only [length_append_sub, ↓reduceIte]
-F    rw [ih v rest h.1]
-    simp only [length_append_sub, ↓reduceIte]
-m    rw [ih v rest h.1]
-    simp only [length_append_sub, ↓reduceIte]
-t    rw [ih v rest h.1]
-    simp only [length_append_sub, ↓reduceIte]
-)    rw [ih v rest h.1]
-    simp only [length_append_sub, ↓reduceIte]
-     rw [ih v rest h.1]
-    simp only [length_append_sub, ↓reduceIte]
-(    rw [ih v rest h.1]
-    simp only [length_append_sub, ↓reduceIte]
-v    rw [ih v rest h.1]
-    simp only [length_append_sub, ↓reduceIte]
-e    rw [ih v rest h.1]
-    simp only [length_append_sub, ↓reduceIte]
-r    rw [ih v rest h.1]
-    simp only [length_append_sub, ↓reduceIte]
-     rw [ih v rest h.1]
-    simp only [length_append_sub, ↓reduceIte]
-:    rw [ih v rest h.1]
-    simp only [length_append_sub, ↓reduceIte]
-     rw [ih v rest h.1]
-    simp only [length_append_sub, ↓reduceIte]
-N    rw [ih v rest h.1]
-    simp only [length_append_sub, ↓reduceIte]
-a    rw [ih v rest h.1]
-    simp only [length_append_sub, ↓reduceIte]
-t    rw [ih v rest h.1]
-    simp only [length_append_sub, ↓reduceIte]
-)    rw [ih v rest h.1]
-    simp only [length_append_sub, ↓reduceIte]
-     rw [ih v rest h.1]
-    simp only [length_append_sub, ↓reduceIte]
-:    rw [ih v rest h.1]
-    simp only [length_append_sub, ↓reduceIte]
-     rw [ih v rest h.1]
-    simp only [length_append_sub, ↓reduceIte]
-∀    rw [ih v rest h.1]
-    simp only [length_append_sub, ↓reduceIte]
-     rw [ih v rest h.1]
-    simp only [length_append_sub, ↓reduceIte]
-(    rw [ih v rest h.1]
-    simp only [length_append_sub, ↓reduceIte]
-v    rw [ih v rest h.1]
-    simp only [length_append_sub, ↓reduceIte]
-     rw [ih v rest h.1]
-    simp only [length_append_sub, ↓reduceIte]
-:    rw [ih v rest h.1]
-    simp only [length_append_sub, ↓reduceIte]
-     rw [ih v rest h.1]
-    simp only [length_append_sub, ↓reduceIte]
-V    rw [ih v rest h.1]
-    simp only [length_append_sub, ↓reduceIte]
-a    rw [ih v rest h.1]
-    simp only [length_append_sub, ↓reduceIte]
-l    rw [ih v rest h.1]
-    simp only [length_append_sub, ↓reduceIte]
-)    rw [ih v rest h.1]
-    simp only [length_append_sub, ↓reduceIte]
-     rw [ih v rest h.1]
-    simp only [length_append_sub, ↓reduceIte]
-(    rw [ih v rest h.1]
-    simp only [length_append_sub, ↓reduceIte]
-r    rw [ih v rest h.1]
-    simp only [length_append_sub, ↓reduceIte]
-e    rw [ih v rest h.1]
-    simp only [length_append_sub, ↓reduceIte]
-s    rw [ih v rest h.1]
-    simp only [length_append_sub, ↓reduceIte]
-t    rw [ih v rest h.1]
-    simp only [length_append_sub, ↓reduceIte]
-     rw [ih v rest h.1]
-    simp only [length_append_sub, ↓reduceIte]
-:    rw [ih v rest h.1]
-    simp only [length_append_sub, ↓reduceIte]
-     rw [ih v rest h.1]
-    simp only [length_append_sub, ↓reduceIte]
-B    rw [ih v rest h.1]
-    simp only [length_append_sub, ↓reduceIte]
-y    rw [ih v rest h.1]
-    simp only [length_append_sub, ↓reduceIte]
-t    rw [ih v rest h.1]
-    simp only [length_append_sub, ↓reduceIte]
-e    rw [ih v rest h.1]
-    simp only [length_append_sub, ↓reduceIte]
-s    rw [ih v rest h.1]
-    simp only [length_append_sub, ↓reduceIte]
-)    rw [ih v rest h.1]
-    simp only [length_append_sub, ↓reduceIte]
-,    rw [ih v rest h.1]
-    simp only [length_append_sub, ↓reduceIte]
-     rw [ih v rest h.1]
-    simp only [length_append_sub, ↓reduceIte]
-W    rw [ih v rest h.1]
-    simp only [length_append_sub, ↓reduceIte]
-T    rw [ih v rest h.1]
-    simp only [length_append_sub, ↓reduceIte]
-     rw [ih v rest h.1]
-    simp only [length_append_sub, ↓reduceIte]
-f    rw [ih v rest h.1]
-    simp only [length_append_sub, ↓reduceIte]
-     rw [ih v rest h.1]
-    simp only [length_append_sub, ↓reduceIte]
-v    rw [ih v rest h.1]
-    simp only [length_append_sub, ↓reduceIte]
-e    rw [ih v rest h.1]
-    simp only [length_append_sub, ↓reduceIte]
-r    rw [ih v rest h.1]
-    simp only [length_append_sub, ↓reduceIte]
-     rw [ih v rest h.1]
-    simp only [length_append_sub, ↓reduceIte]
-v    rw [ih v rest h.1]
-    simp only [length_append_sub, ↓reduceIte]
-     rw [ih v rest h.1]
-    simp only [length_append_sub, ↓reduceIte]
-=    rw [ih v rest h.1]
-    simp only [length_append_sub, ↓reduceIte]
-     rw [ih v rest h.1]
-    simp only [length_append_sub, ↓reduceIte]
-t    rw [ih v rest h.1]
-    simp only [length_append_sub, ↓reduceIte]
-r    rw [ih v rest h.1]
-    simp only [length_append_sub, ↓reduceIte]
-u    rw [ih v rest h.1]
-    simp only [length_append_sub, ↓reduceIte]
-e    rw [ih v rest h.1]
-    simp only [length_append_sub, ↓reduceIte]
-     rw [ih v rest h.1]
-    simp only [length_append_sub, ↓reduceIte]
-→    rw [ih v rest h.1]
-    simp only [length_append_sub, ↓reduceIte]
-
-    rw [ih v rest h.1]
-    simp only [length_append_sub, ↓reduceIte]
-     rw [ih v rest h.1]
-    simp only [length_append_sub, ↓reduceIte]
-     rw [ih v rest h.1]
-    simp only [length_append_sub, ↓reduceIte]
-     rw [ih v rest h.1]
-    simp only [length_append_sub, ↓reduceIte]
-     rw [ih v rest h.1]
-    simp only [length_append_sub, ↓reduceIte]
-d    rw [ih v rest h.1]
-    simp only [length_append_sub, ↓reduceIte]
-e    rw [ih v rest h.1]
-    simp only [length_append_sub, ↓reduceIte]
-c    rw [ih v rest h.1]
-    simp only [length_append_sub, ↓reduceIte]
-     rw [ih v rest h.1]
-    simp only [length_append_sub, ↓reduceIte]
-f    rw [ih v rest h.1]
-    simp only [length_append_sub, ↓reduceIte]
-     rw [ih v rest h.1]
-    simp only [length_append_sub, ↓reduceIte]
-v    rw [ih v rest h.1]
-    simp only [length_append_sub, ↓reduceIte]
-e    rw [ih v rest h.1]
-    simp only [length_append_sub, ↓reduceIte]
-r    rw [ih v rest h.1]
-    simp only [length_append_sub, ↓reduceIte]
-     rw [ih v rest h.1]
-    simp only [length_append_sub, ↓reduceIte]
-(    rw [ih v rest h.1]
-    simp only [length_append_sub, ↓reduceIte]
-e    rw [ih v rest h.1]
-    simp only [length_append_sub, ↓reduceIte]
-n    rw [ih v rest h.1]
-    simp only [length_append_sub, ↓reduceIte]
-c    rw [ih v rest h.1]
-    simp only [length_append_sub, ↓reduceIte]
-     rw [ih v rest h.1]
-    simp only [length_append_sub, ↓reduceIte]
-f    rw [ih v rest h.1]
-    simp only [length_append_sub, ↓reduceIte]
-     rw [ih v rest h.1]
-    simp only [length_append_sub, ↓reduceIte]
-v    rw [ih v rest h.1]
-    simp only [length_append_sub, ↓reduceIte]
-e    rw [ih v rest h.1]
-    simp only [length_append_sub, ↓reduceIte]
-r    rw [ih v rest h.1]
-    simp only [length_append_sub, ↓reduceIte]
-     rw [ih v rest h.1]
-    simp only [length_append_sub, ↓reduceIte]
-v    rw [ih v rest h.1]
-    simp only [length_append_sub, ↓reduceIte]
-     rw [ih v rest h.1]
-    simp only [length_append_sub, ↓reduceIte]
-+    rw [ih v rest h.1]
-    simp only [length_append_sub, ↓reduceIte]
-+    rw [ih v rest h.1]
-    simp only [length_append_sub, ↓reduceIte]
-     rw [ih v rest h.1]
-    simp only [length_append_sub, ↓reduceIte]
-r    rw [ih v rest h.1]
-    simp only [length_append_sub, ↓reduceIte]
-e    rw [ih v rest h.1]
-    simp only [length_append_sub, ↓reduceIte]
-s    rw [ih v rest h.1]
-    simp only [length_append_sub, ↓reduceIte]
-t    rw [ih v rest h.1]
-    simp only [length_append_sub, ↓reduceIte]
-)    rw [ih v rest h.1]
-    simp only [length_append_sub, ↓reduceIte]
-     rw [ih v rest h.1]
-    simp only [length_append_sub, ↓reduceIte]
-=    rw [ih v rest h.1]
-    simp only [length_append_sub, ↓reduceIte]
-     rw [ih v rest h.1]
-    simp only [length_append_sub, ↓reduceIte]
-s    rw [ih v rest h.1]
-    simp only [length_append_sub, ↓reduceIte]
-o    rw [ih v rest h.1]
-    simp only [length_append_sub, ↓reduceIte]
-m    rw [ih v rest h.1]
-    simp only [length_append_sub, ↓reduceIte]
-e    rw [ih v rest h.1]
-    simp only [length_append_sub, ↓reduceIte]
-     rw [ih v rest h.1]
-    simp only [length_append_sub, ↓reduceIte]
-(    rw [ih v rest h.1]
-    simp only [length_append_sub, ↓reduceIte]
-v    rw [ih v rest h.1]
-    simp only [length_append_sub, ↓reduceIte]
-,    rw [ih v rest h.1]
-    simp only [length_append_sub, ↓reduceIte]
-     rw [ih v rest h.1]
-    simp only [length_append_sub, ↓reduceIte]
-r    rw [ih v rest h.1]
-    simp only [length_append_sub, ↓reduceIte]
-e    rw [ih v rest h.1]
-    simp only [length_append_sub, ↓reduceIte]
-s    rw [ih v rest h.1]
-    simp only [length_append_sub, ↓reduceIte]
-t    rw [ih v rest h.1]
-    simp only [length_append_sub, ↓reduceIte]
-)    rw [ih v rest h.1]
-    simp only [length_append_sub, ↓reduceIte]
-     rw [ih v rest h.1]
-    simp only [length_append_sub, ↓reduceIte]
-:    rw [ih v rest h.1]
-    simp only [length_append_sub, ↓reduceIte]
-=    rw [ih v rest h.1]
-    simp only [length_append_sub, ↓reduceIte]
-     rw [ih v rest h.1]
-    simp only [length_append_sub, ↓reduceIte]
-b    rw [ih v rest h.1]
-    simp only [length_append_sub, ↓reduceIte]
-y    rw [ih v rest h.1]
-    simp only [length_append_sub, ↓reduceIte]
-
-    rw [ih v rest h.1]
-    simp only [length_append_sub, ↓reduceIte]
-     rw [ih v rest h.1]
-    simp only [length_append_sub, ↓reduceIte]
-     rw [ih v rest h.1]
-    simp only [length_append_sub, ↓reduceIte]
-i    rw [ih v rest h.1]
-    simp only [length_append_sub, ↓reduceIte]
-n    rw [ih v rest h.1]
-    simp only [length_append_sub, ↓reduceIte]
-d    rw [ih v rest h.1]
-    simp only [length_append_sub, ↓reduceIte]
-u    rw [ih v rest h.1]
-    simp only [length_append_sub, ↓reduceIte]
-c    rw [ih v rest h.1]
-    simp only [length_append_sub, ↓reduceIte]
-t    rw [ih v rest h.1]
-    simp only [length_append_sub, ↓reduceIte]
-i    rw [ih v rest h.1]
-    simp only [length_append_sub, ↓reduceIte]
-o    rw [ih v rest h.1]
-    simp only [length_append_sub, ↓reduceIte]
-n    rw [ih v rest h.1]
-    simp only [length_append_sub, ↓reduceIte]
-     rw [ih v rest h.1]
-    simp only [length_append_sub, ↓reduceIte]
-f    rw [ih v rest h.1]
-    simp only [length_append_sub, ↓reduceIte]
-     rw [ih v rest h.1]
-    simp only [length_append_sub, ↓reduceIte]
-w    rw [ih v rest h.1]
-    simp only [length_append_sub, ↓reduceIte]
-i    rw [ih v rest h.1]
-    simp only [length_append_sub, ↓reduceIte]
-t    rw [ih v rest h.1]
-    simp only [length_append_sub, ↓reduceIte]
-h    rw [ih v rest h.1]
-    simp only [length_append_sub, ↓reduceIte]
-
-    rw [ih v rest h.1]
-    simp only [length_append_sub, ↓reduceIte]
-     rw [ih v rest h.1]
-    simp only [length_append_sub, ↓reduceIte]
-     rw [ih v rest h.1]
-    simp only [length_append_sub, ↓reduceIte]
-|    rw [ih v rest h.1]
-    simp only [length_append_sub, ↓reduceIte]
-     rw [ih v rest h.1]
-    simp only [length_append_sub, ↓reduceIte]
-p    rw [ih v rest h.1]
-    simp only [length_append_sub, ↓reduceIte]
-r    rw [ih v rest h.1]
-    simp only [length_append_sub, ↓reduceIte]
-i    rw [ih v rest h.1]
-    simp only [length_append_sub, ↓reduceIte]
-m    rw [ih v rest h.1]
-    simp only [length_append_sub, ↓reduceIte]
-     rw [ih v rest h.1]
-    simp only [length_append_sub, ↓reduceIte]
-p    rw [ih v rest h.1]
-    simp only [length_append_sub, ↓reduceIte]
-     rw [ih v rest h.1]
-    simp only [length_append_sub, ↓reduceIte]
-=    rw [ih v rest h.1]
-    simp only [length_append_sub, ↓reduceIte]
->    rw [ih v rest h.1]
-    simp only [length_append_sub, ↓reduceIte]
-     rw [ih v rest h.1]
-    simp only [length_append_sub, ↓reduceIte]
-i    rw [ih v rest h.1]
-    simp only [length_append_sub, ↓reduceIte]
-n    rw [ih v rest h.1]
-    simp only [length_append_sub, ↓reduceIte]
-t    rw [ih v rest h.1]
-    simp only [length_append_sub, ↓reduceIte]
-r    rw [ih v rest h.1]
-    simp only [length_append_sub, ↓reduceIte]
-o    rw [ih v rest h.1]
-    simp only [length_append_sub, ↓reduceIte]
-     rw [ih v rest h.1]
-    simp only [length_append_sub, ↓reduceIte]
-v    rw [ih v rest h.1]
-    simp only [length_append_sub, ↓reduceIte]
-     rw [ih v rest h.1]
-    simp only [length_append_sub, ↓reduceIte]
-r    rw [ih v rest h.1]
-    simp only [length_append_sub, ↓reduceIte]
-e    rw [ih v rest h.1]
-    simp only [length_append_sub, ↓reduceIte]
-s    rw [ih v rest h.1]
-    simp only [length_append_sub, ↓reduceIte]
-t    rw [ih v rest h.1]
-    simp only [length_append_sub, ↓reduceIte]
-     rw [ih v rest h.1]
-    simp only [length_append_sub, ↓reduceIte]
-h    rw [ih v rest h.1]
-    simp only [length_append_sub, ↓reduceIte]
-;    rw [ih v rest h.1]
-    simp only [length_append_sub, ↓reduceIte]
-     rw [ih v rest h.1]
-    simp only [length_append_sub, ↓reduceIte]
-e    rw [ih v rest h.1]
-    simp only [length_append_sub, ↓reduceIte]
-x    rw [ih v rest h.1]
-    simp only [length_append_sub, ↓reduceIte]
-a    rw [ih v rest h.1]
-    simp only [length_append_sub, ↓reduceIte]
-c    rw [ih v rest h.1]
-    simp only [length_append_sub, ↓reduceIte]
-t    rw [ih v rest h.1]
-    simp only [length_append_sub, ↓reduceIte]
-     rw [ih v rest h.1]
-    simp only [length_append_sub, ↓reduceIte]
-d    rw [ih v rest h.1]
-    simp only [length_append_sub, ↓reduceIte]
-e    rw [ih v rest h.1]
-    simp only [length_append_sub, ↓reduceIte]
-c    rw [ih v rest h.1]
-    simp only [length_append_sub, ↓reduceIte]
-P    rw [ih v rest h.1]
-    simp only [length_append_sub, ↓reduceIte]
-_    rw [ih v rest h.1]
-    simp only [length_append_sub, ↓reduceIte]
-e    rw [ih v rest h.1]
-    simp only [length_append_sub, ↓reduceIte]
-n    rw [ih v rest h.1]
-    simp only [length_append_sub, ↓reduceIte]
-c    rw [ih v rest h.1]
-    simp only [length_append_sub, ↓reduceIte]
-P    rw [ih v rest h.1]
-    simp only [length_append_sub, ↓reduceIte]
-     rw [ih v rest h.1]
-    simp only [length_append_sub, ↓reduceIte]
-p    rw [ih v rest h.1]
-    simp only [length_append_sub, ↓reduceIte]
-     rw [ih v rest h.1]
-    simp only [length_append_sub, ↓reduceIte]
-v    rw [ih v rest h.1]
-    simp only [length_append_sub, ↓reduceIte]
-     rw [ih v rest h.1]
-    simp only [length_append_sub, ↓reduceIte]
-r    rw [ih v rest h.1]
-    simp only [length_append_sub, ↓reduceIte]
-e    rw [ih v rest h.1]
-    simp only [length_append_sub, ↓reduceIte]
-s    rw [ih v rest h.1]
-    simp only [length_append_sub, ↓reduceIte]
-t    rw [ih v rest h.1]
-    simp only [length_append_sub, ↓reduceIte]
-     rw [ih v rest h.1]
-    simp only [length_append_sub, ↓reduceIte]
-h    rw [ih v rest h.1]
-    simp only [length_append_sub, ↓reduceIte]
-
-    rw [ih v rest h.1]
-    simp only [length_append_sub, ↓reduceIte]
-     rw [ih v rest h.1]
-    simp only [length_append_sub, ↓reduceIte]
-     rw [ih v rest h.1]
-    simp only [length_append_sub, ↓reduceIte]
-|    rw [ih v rest h.1]
-    simp only [length_append_sub, ↓reduceIte]
-     rw [ih v rest h.1]
-    simp only [length_append_sub, ↓reduceIte]
-u    rw [ih v rest h.1]
-    simp only [length_append_sub, ↓reduceIte]
-n    rw [ih v rest h.1]
-    simp only [length_append_sub, ↓reduceIte]
-i    rw [ih v rest h.1]
-    simp only [length_append_sub, ↓reduceIte]
-t    rw [ih v rest h.1]
-    simp only [length_append_sub, ↓reduceIte]
-     rw [ih v rest h.1]
-    simp only [length_append_sub, ↓reduceIte]
-=    rw [ih v rest h.1]
-    simp only [length_append_sub, ↓reduceIte]
->    rw [ih v rest h.1]
-    simp only [length_append_sub, ↓reduceIte]
-     rw [ih v rest h.1]
-    simp only [length_append_sub, ↓reduceIte]
-i    rw [ih v rest h.1]
-    simp only [length_append_sub, ↓reduceIte]
-n    rw [ih v rest h.1]
-    simp only [length_append_sub, ↓reduceIte]
-t    rw [ih v rest h.1]
-    simp only [length_append_sub, ↓reduceIte]
-r    rw [ih v rest h.1]
-    simp only [length_append_sub, ↓reduceIte]
-o    rw [ih v rest h.1]
-    simp only [length_append_sub, ↓reduceIte]
-     rw [ih v rest h.1]
-    simp only [length_append_sub, ↓reduceIte]
-v    rw [ih v rest h.1]
-    simp only [length_append_sub, ↓reduceIte]
-     rw [ih v rest h.1]
-    simp only [length_append_sub, ↓reduceIte]
-r    rw [ih v rest h.1]
-    simp only [length_append_sub, ↓reduceIte]
-e    rw [ih v rest h.1]
-    simp only [length_append_sub, ↓reduceIte]
-s    rw [ih v rest h.1]
-    simp only [length_append_sub, ↓reduceIte]
-t    rw [ih v rest h.1]
-    simp only [length_append_sub, ↓reduceIte]
-     rw [ih v rest h.1]
-    simp only [length_append_sub, ↓reduceIte]
-h    rw [ih v rest h.1]
-    simp only [length_append_sub, ↓reduceIte]
-;    rw [ih v rest h.1]
-    simp only [length_append_sub, ↓reduceIte]
-     rw [ih v rest h.1]
-    simp only [length_append_sub, ↓reduceIte]
-c    rw [ih v rest h.1]
-    simp only [length_append_sub, ↓reduceIte]
-a    rw [ih v rest h.1]
-    simp only [length_append_sub, ↓reduceIte]
-s    rw [ih v rest h.1]
-    simp only [length_append_sub, ↓reduceIte]
-e    rw [ih v rest h.1]
-    simp only [length_append_sub, ↓reduceIte]
-s    rw [ih v rest h.1]
-    simp only [length_append_sub, ↓reduceIte]
-     rw [ih v rest h.1]
-    simp only [length_append_sub, ↓reduceIte]
-v    rw [ih v rest h.1]
-    simp only [length_append_sub, ↓reduceIte]
-     rw [ih v rest h.1]
-    simp only [length_append_sub, ↓reduceIte]
-<    rw [ih v rest h.1]
-    simp only [length_append_sub, ↓reduceIte]
-;    rw [ih v rest h.1]
-    simp only [length_append_sub, ↓reduceIte]
->    rw [ih v rest h.1]
-    simp only [length_append_sub, ↓reduceIte]
-     rw [ih v rest h.1]
-    simp only [length_append_sub, ↓reduceIte]
-s    rw [ih v rest h.1]
-    simp only [length_append_sub, ↓reduceIte]
-i    rw [ih v rest h.1]
-    simp only [length_append_sub, ↓reduceIte]
-m    rw [ih v rest h.1]
-    simp only [length_append_sub, ↓reduceIte]
-p    rw [ih v rest h.1]
-    simp only [length_append_sub, ↓reduceIte]
-     rw [ih v rest h.1]
-    simp only [length_append_sub, ↓reduceIte]
-o    rw [ih v rest h.1]
-    simp only [length_append_sub, ↓reduceIte]
-n    rw [ih v rest h.1]
-    simp only [length_append_sub, ↓reduceIte]
-l    rw [ih v rest h.1]
-    simp only [length_append_sub, ↓reduceIte]
-y    rw [ih v rest h.1]
-    simp only [length_append_sub, ↓reduceIte]
-     rw [ih v rest h.1]
-    simp only [length_append_sub, ↓reduceIte]
-[    rw [ih v rest h.1]
-    simp only [length_append_sub, ↓reduceIte]
-W    rw [ih v rest h.1]
-    simp only [length_append_sub, ↓reduceIte]
-T    rw [ih v rest h.1]
-    simp only [length_append_sub, ↓reduceIte]
-,    rw [ih v rest h.1]
-    simp only [length_append_sub, ↓reduceIte]
-     rw [ih v rest h.1]
-    simp only [length_append_sub, ↓reduceIte]
-B    rw [ih v rest h.1]
-    simp only [length_append_sub, ↓reduceIte]
-o    rw [ih v rest h.1]
-    simp only [length_append_sub, ↓reduceIte]
-o    rw [ih v rest h.1]
-    simp only [length_append_sub, ↓reduceIte]
-l    rw [ih v rest h.1]
-    simp only [length_append_sub, ↓reduceIte]
-.    rw [ih v rest h.1]
-    simp only [length_append_sub, ↓reduceIte]
-f    rw [ih v rest h.1]
-    simp only [length_append_sub, ↓reduceIte]
-a    rw [ih v rest h.1]
-    simp only [length_append_sub, ↓reduceIte]
-l    rw [ih v rest h.1]
-    simp only [length_append_sub, ↓reduceIte]
-s    rw [ih v rest h.1]
-    simp only [length_append_sub, ↓reduceIte]
-e    rw [ih v rest h.1]
-    simp only [length_append_sub, ↓reduceIte]
-_    rw [ih v rest h.1]
-    simp only [length_append_sub, ↓reduceIte]
-e    rw [ih v rest h.1]
-    simp only [length_append_sub, ↓reduceIte]
-q    rw [ih v rest h.1]
-    simp only [length_append_sub, ↓reduceIte]
-_    rw [ih v rest h.1]
-    simp only [length_append_sub, ↓reduceIte]
-t    rw [ih v rest h.1]
-    simp only [length_append_sub, ↓reduceIte]
-r    rw [ih v rest h.1]
-    simp only [length_append_sub, ↓reduceIte]
-u    rw [ih v rest h.1]
-    simp only [length_append_sub, ↓reduceIte]
-e    rw [ih v rest h.1]
-    simp only [length_append_sub, ↓reduceIte]
-]    rw [ih v rest h.1]
-    simp only [length_append_sub, ↓reduceIte]
-     rw [ih v rest h.1]
-    simp only [length_append_sub, ↓reduceIte]
-a    rw [ih v rest h.1]
-    simp only [length_append_sub, ↓reduceIte]
-t    rw [ih v rest h.1]
-    simp only [length_append_sub, ↓reduceIte]
-     rw [ih v rest h.1]
-    simp only [length_append_sub, ↓reduceIte]
-h    rw [ih v rest h.1]
-    simp only [length_append_sub, ↓reduceIte]
-;    rw [ih v rest h.1]
-    simp only [length_append_sub, ↓reduceIte]
-     rw [ih v rest h.1]
-    simp only [length_append_sub, ↓reduceIte]
-r    rw [ih v rest h.1]
-    simp only [length_append_sub, ↓reduceIte]
-f    rw [ih v rest h.1]
-    simp only [length_append_sub, ↓reduceIte]
-l    rw [ih v rest h.1]
-    simp only [length_append_sub, ↓reduceIte]
-
-    rw [ih v rest h.1]
-    simp only [length_append_sub, ↓reduceIte]
-     rw [ih v rest h.1]
-    simp only [length_append_sub, ↓reduceIte]
-     rw [ih v rest h.1]
-    simp only [length_append_sub, ↓reduceIte]
-|    rw [ih v rest h.1]
-    simp only [length_append_sub, ↓reduceIte]
-     rw [ih v rest h.1]
-    simp only [length_append_sub, ↓reduceIte]
-s    rw [ih v rest h.1]
-    simp only [length_append_sub, ↓reduceIte]
-e    rw [ih v rest h.1]
-    simp only [length_append_sub, ↓reduceIte]
-q    rw [ih v rest h.1]
-    simp only [length_append_sub, ↓reduceIte]
-     rw [ih v rest h.1]
-    simp only [length_append_sub, ↓reduceIte]
-a    rw [ih v rest h.1]
-    simp only [length_append_sub, ↓reduceIte]
-     rw [ih v rest h.1]
-    simp only [length_append_sub, ↓reduceIte]
-b    rw [ih v rest h.1]
-    simp only [length_append_sub, ↓reduceIte]
-     rw [ih v rest h.1]
-    simp only [length_append_sub, ↓reduceIte]
-i    rw [ih v rest h.1]
-    simp only [length_append_sub, ↓reduceIte]
-h    rw [ih v rest h.1]
-    simp only [length_append_sub, ↓reduceIte]
-a    rw [ih v rest h.1]
-    simp only [length_append_sub, ↓reduceIte]
-     rw [ih v rest h.1]
-    simp only [length_append_sub, ↓reduceIte]
-i    rw [ih v rest h.1]
-    simp only [length_append_sub, ↓reduceIte]
-h    rw [ih v rest h.1]
-    simp only [length_append_sub, ↓reduceIte]
-b    rw [ih v rest h.1]
-    simp only [length_append_sub, ↓reduceIte]
-     rw [ih v rest h.1]
-    simp only [length_append_sub, ↓reduceIte]
-=    rw [ih v rest h.1]
-    simp only [length_append_sub, ↓reduceIte]
->    rw [ih v rest h.1]
-    simp only [length_append_sub, ↓reduceIte]
-
-    rw [ih v rest h.1]
-    simp only [length_append_sub, ↓reduceIte]
-     rw [ih v rest h.1]
-    simp only [length_append_sub, ↓reduceIte]
-     rw [ih v rest h.1]
-    simp only [length_append_sub, ↓reduceIte]
-     rw [ih v rest h.1]
-    simp only [length_append_sub, ↓reduceIte]
-     rw [ih v rest h.1]
-    simp only [length_append_sub, ↓reduceIte]
-i    rw [ih v rest h.1]
-    simp only [length_append_sub, ↓reduceIte]
-n    rw [ih v rest h.1]
-    simp only [length_append_sub, ↓reduceIte]
-t    rw [ih v rest h.1]
-    simp only [length_append_sub, ↓reduceIte]
-r    rw [ih v rest h.1]
-    simp only [length_append_sub, ↓reduceIte]
-o    rw [ih v rest h.1]
-    simp only [length_append_sub, ↓reduceIte]
-     rw [ih v rest h.1]
-    simp only [length_append_sub, ↓reduceIte]
-v    rw [ih v rest h.1]
-    simp only [length_append_sub, ↓reduceIte]
-     rw [ih v rest h.1]
-    simp only [length_append_sub, ↓reduceIte]
-r    rw [ih v rest h.1]
-    simp only [length_append_sub, ↓reduceIte]
-e    rw [ih v rest h.1]
-    simp only [length_append_sub, ↓reduceIte]
-s    rw [ih v rest h.1]
-    simp only [length_append_sub, ↓reduceIte]
-t    rw [ih v rest h.1]
-    simp only [length_append_sub, ↓reduceIte]
-     rw [ih v rest h.1]
-    simp only [length_append_sub, ↓reduceIte]
-h    rw [ih v rest h.1]
-    simp only [length_append_sub, ↓reduceIte]
-
-    rw [ih v rest h.1]
-    simp only [length_append_sub, ↓reduceIte]
-     rw [ih v rest h.1]
-    simp only [length_append_sub, ↓reduceIte]
-     rw [ih v rest h.1]
-    simp only [length_append_sub, ↓reduceIte]
-     rw [ih v rest h.1]
-    simp only [length_append_sub, ↓reduceIte]
-     rw [ih v rest h.1]
-    simp only [length_append_sub, ↓reduceIte]
-c    rw [ih v rest h.1]
-    simp only [length_append_sub, ↓reduceIte]
-a    rw [ih v rest h.1]
-    simp only [length_append_sub, ↓reduceIte]
-s    rw [ih v rest h.1]
-    simp only [length_append_sub, ↓reduceIte]
-e    rw [ih v rest h.1]
-    simp only [length_append_sub, ↓reduceIte]
-s    rw [ih v rest h.1]
-    simp only [length_append_sub, ↓reduceIte]
-     rw [ih v rest h.1]
-    simp only [length_append_sub, ↓reduceIte]
-v    rw [ih v rest h.1]
-    simp only [length_append_sub, ↓reduceIte]
-     rw [ih v rest h.1]
-    simp only [length_append_sub, ↓reduceIte]
-<    rw [ih v rest h.1]
-    simp only [length_append_sub, ↓reduceIte]
-;    rw [ih v rest h.1]
-    simp only [length_append_sub, ↓reduceIte]
->    rw [ih v rest h.1]
-    simp only [length_append_sub, ↓reduceIte]
-     rw [ih v rest h.1]
-    simp only [length_append_sub, ↓reduceIte]
-s    rw [ih v rest h.1]
-    simp only [length_append_sub, ↓reduceIte]
-i    rw [ih v rest h.1]
-    simp only [length_append_sub, ↓reduceIte]
-m    rw [ih v rest h.1]
-    simp only [length_append_sub, ↓reduceIte]
-p    rw [ih v rest h.1]
-    simp only [length_append_sub, ↓reduceIte]
-     rw [ih v rest h.1]
-    simp only [length_append_sub, ↓reduceIte]
-o    rw [ih v rest h.1]
-    simp only [length_append_sub, ↓reduceIte]
-n    rw [ih v rest h.1]
-    simp only [length_append_sub, ↓reduceIte]
-l    rw [ih v rest h.1]
-    simp only [length_append_sub, ↓reduceIte]
-y    rw [ih v rest h.1]
-    simp only [length_append_sub, ↓reduceIte]
-     rw [ih v rest h.1]
-    simp only [length_append_sub, ↓reduceIte]
-[    rw [ih v rest h.1]
-    simp only [length_append_sub, ↓reduceIte]
-W    rw [ih v rest h.1]
-    simp only [length_append_sub, ↓reduceIte]
-T    rw [ih v rest h.1]
-    simp only [length_append_sub, ↓reduceIte]
-,    rw [ih v rest h.1]
-    simp only [length_append_sub, ↓reduceIte]
-     rw [ih v rest h.1]
-    simp only [length_append_sub, ↓reduceIte]
-B    rw [ih v rest h.1]
-    simp only [length_append_sub, ↓reduceIte]
-o    rw [ih v rest h.1]
-    simp only [length_append_sub, ↓reduceIte]
-o    rw [ih v rest h.1]
-    simp only [length_append_sub, ↓reduceIte]
-l    rw [ih v rest h.1]
-    simp only [length_append_sub, ↓reduceIte]
-.    rw [ih v rest h.1]
-    simp only [length_append_sub, ↓reduceIte]
-f    rw [ih v rest h.1]
-    simp only [length_append_sub, ↓reduceIte]
-a    rw [ih v rest h.1]
-    simp only [length_append_sub, ↓reduceIte]
-l    rw [ih v rest h.1]
-    simp only [length_append_sub, ↓reduceIte]
-s    rw [ih v rest h.1]
-    simp only [length_append_sub, ↓reduceIte]
-e    rw [ih v rest h.1]
-    simp only [length_append_sub, ↓reduceIte]
-_    rw [ih v rest h.1]
-    simp only [length_append_sub, ↓reduceIte]
-e    rw [ih v rest h.1]
-    simp only [length_append_sub, ↓reduceIte]
-q    rw [ih v rest h.1]
-    simp only [length_append_sub, ↓reduceIte]
-_    rw [ih v rest h.1]
-    simp only [length_append_sub, ↓reduceIte]
-t    rw [ih v rest h.1]
-    simp only [length_append_sub, ↓reduceIte]
-r    rw [ih v rest h.1]
-    simp only [length_append_sub, ↓reduceIte]
-u    rw [ih v rest h.1]
-    simp only [length_append_sub, ↓reduceIte]
-e    rw [ih v rest h.1]
-    simp only [length_append_sub, ↓reduceIte]
-,    rw [ih v rest h.1]
-    simp only [length_append_sub, ↓reduceIte]
-     rw [ih v rest h.1]
-    simp only [length_append_sub, ↓reduceIte]
-B    rw [ih v rest h.1]
-    simp only [length_append_sub, ↓reduceIte]
-o    rw [ih v rest h.1]
-    simp only [length_append_sub, ↓reduceIte]
-o    rw [ih v rest h.1]
-    simp only [length_append_sub, ↓reduceIte]
-l    rw [ih v rest h.1]
-    simp only [length_append_sub, ↓reduceIte]
-.    rw [ih v rest h.1]
-    simp only [length_append_sub, ↓reduceIte]
-a    rw [ih v rest h.1]
-    simp only [length_append_sub, ↓reduceIte]
-n    rw [ih v rest h.1]
-    simp only [length_append_sub, ↓reduceIte]
-d    rw [ih v rest h.1]
-    simp only [length_append_sub, ↓reduceIte]
-_    rw [ih v rest h.1]
-    simp only [length_append_sub, ↓reduceIte]
-e    rw [ih v rest h.1]
-    simp only [length_append_sub, ↓reduceIte]
-q    rw [ih v rest h.1]
-    simp only [length_append_sub, ↓reduceIte]
-_    rw [ih v rest h.1]
-    simp only [length_append_sub, ↓reduceIte]
-t    rw [ih v rest h.1]
-    simp only [length_append_sub, ↓reduceIte]
-r    rw [ih v rest h.1]
-    simp only [length_append_sub, ↓reduceIte]
-u    rw [ih v rest h.1]
-    simp only [length_append_sub, ↓reduceIte]
-e    rw [ih v rest h.1]
-    simp only [length_append_sub, ↓reduceIte]
-]    rw [ih v rest h.1]
-    simp only [length_append_sub, ↓reduceIte]
-     rw [ih v rest h.1]
-    simp only [length_append_sub, ↓reduceIte]
-a    rw [ih v rest h.1]
-    simp only [length_append_sub, ↓reduceIte]
-t    rw [ih v rest h.1]
-    simp only [length_append_sub, ↓reduceIte]
-     rw [ih v rest h.1]
-    simp only [length_append_sub, ↓reduceIte]
-h    rw [ih v rest h.1]
-    simp only [length_append_sub, ↓reduceIte]
-
-    rw [ih v rest h.1]
-    simp only [length_append_sub, ↓reduceIte]
-     rw [ih v rest h.1]
-    simp only [length_append_sub, ↓reduceIte]
-     rw [ih v rest h.1]
-    simp only [length_append_sub, ↓reduceIte]
-     rw [ih v rest h.1]
-    simp only [length_append_sub, ↓reduceIte]
-     rw [ih v rest h.1]
-    simp only [length_append_sub, ↓reduceIte]
-c    rw [ih v rest h.1]
-    simp only [length_append_sub, ↓reduceIte]
-a    rw [ih v rest h.1]
-    simp only [length_append_sub, ↓reduceIte]
-s    rw [ih v rest h.1]
-    simp only [length_append_sub, ↓reduceIte]
-e    rw [ih v rest h.1]
-    simp only [length_append_sub, ↓reduceIte]
-     rw [ih v rest h.1]
-    simp only [length_append_sub, ↓reduceIte]
-p    rw [ih v rest h.1]
-    simp only [length_append_sub, ↓reduceIte]
-a    rw [ih v rest h.1]
-    simp only [length_append_sub, ↓reduceIte]
-i    rw [ih v rest h.1]
-    simp only [length_append_sub, ↓reduceIte]
-r    rw [ih v rest h.1]
-    simp only [length_append_sub, ↓reduceIte]
-     rw [ih v rest h.1]
-    simp only [length_append_sub, ↓reduceIte]
-x    rw [ih v rest h.1]
-    simp only [length_append_sub, ↓reduceIte]
-     rw [ih v rest h.1]
-    simp only [length_append_sub, ↓reduceIte]
-y    rw [ih v rest h.1]
-    simp only [length_append_sub, ↓reduceIte]
-     rw [ih v rest h.1]
-    simp only [length_append_sub, ↓reduceIte]
-=    rw [ih v rest h.1]
-    simp only [length_append_sub, ↓reduceIte]
->    rw [ih v rest h.1]
-    simp only [length_append_sub, ↓reduceIte]
-
-    rw [ih v rest h.1]
-    simp only [length_append_sub, ↓reduceIte]
-     rw [ih v rest h.1]
-    simp only [length_append_sub, ↓reduceIte]
-     rw [ih v rest h.1]
-    simp only [length_append_sub, ↓reduceIte]
-     rw [ih v rest h.1]
-    simp only [length_append_sub, ↓reduceIte]
-     rw [ih v rest h.1]
-    simp only [length_append_sub, ↓reduceIte]
-     rw [ih v rest h.1]
-    simp only [length_append_sub, ↓reduceIte]
-     rw [ih v rest h.1]
-    simp only [length_append_sub, ↓reduceIte]
-s    rw [ih v rest h.1]
-    simp only [length_append_sub, ↓reduceIte]
-i    rw [ih v rest h.1]
-    simp only [length_append_sub, ↓reduceIte]
-m    rw [ih v rest h.1]
-    simp only [length_append_sub, ↓reduceIte]
-p    rw [ih v rest h.1]
-    simp only [length_append_sub, ↓reduceIte]
-     rw [ih v rest h.1]
-    simp only [length_append_sub, ↓reduceIte]
-o    rw [ih v rest h.1]
-    simp only [length_append_sub, ↓reduceIte]
-n    rw [ih v rest h.1]
-    simp only [length_append_sub, ↓reduceIte]
-l    rw [ih v rest h.1]
-    simp only [length_append_sub, ↓reduceIte]
-y    rw [ih v rest h.1]
-    simp only [length_append_sub, ↓reduceIte]
-     rw [ih v rest h.1]
-    simp only [length_append_sub, ↓reduceIte]
-[    rw [ih v rest h.1]
-    simp only [length_append_sub, ↓reduceIte]
-e    rw [ih v rest h.1]
-    simp only [length_append_sub, ↓reduceIte]
-n    rw [ih v rest h.1]
-    simp only [length_append_sub, ↓reduceIte]
-c    rw [ih v rest h.1]
-    simp only [length_append_sub, ↓reduceIte]
-,    rw [ih v rest h.1]
-    simp only [length_append_sub, ↓reduceIte]
-     rw [ih v rest h.1]
-    simp only [length_append_sub, ↓reduceIte]
-d    rw [ih v rest h.1]
-    simp only [length_append_sub, ↓reduceIte]
-e    rw [ih v rest h.1]
-    simp only [length_append_sub, ↓reduceIte]
-c    rw [ih v rest h.1]
-    simp only [length_append_sub, ↓reduceIte]
-,    rw [ih v rest h.1]
-    simp only [length_append_sub, ↓reduceIte]
-     rw [ih v rest h.1]
-    simp only [length_append_sub, ↓reduceIte]
-L    rw [ih v rest h.1]
-    simp only [length_append_sub, ↓reduceIte]
-i    rw [ih v rest h.1]
-    simp only [length_append_sub, ↓reduceIte]
-s    rw [ih v rest h.1]
-    simp only [length_append_sub, ↓reduceIte]
-t    rw [ih v rest h.1]
-    simp only [length_append_sub, ↓reduceIte]
-.    rw [ih v rest h.1]
-    simp only [length_append_sub, ↓reduceIte]
-a    rw [ih v rest h.1]
-    simp only [length_append_sub, ↓reduceIte]
-p    rw [ih v rest h.1]
-    simp only [length_append_sub, ↓reduceIte]
-p    rw [ih v rest h.1]
-    simp only [length_append_sub, ↓reduceIte]
-e    rw [ih v rest h.1]
-    simp only [length_append_sub, ↓reduceIte]
-n    rw [ih v rest h.1]
-    simp only [length_append_sub, ↓reduceIte]
-d    rw [ih v rest h.1]
-    simp only [length_append_sub, ↓reduceIte]
-_    rw [ih v rest h.1]
-    simp only [length_append_sub, ↓reduceIte]
-a    rw [ih v rest h.1]
-    simp only [length_append_sub, ↓reduceIte]
-s    rw [ih v rest h.1]
-    simp only [length_append_sub, ↓reduceIte]
-s    rw [ih v rest h.1]
-    simp only [length_append_sub, ↓reduceIte]
-o    rw [ih v rest h.1]
-    simp only [length_append_sub, ↓reduceIte]
-c    rw [ih v rest h.1]
-    simp only [length_append_sub, ↓reduceIte]
-]    rw [ih v rest h.1]
-    simp only [length_append_sub, ↓reduceIte]
-
-    rw [ih v rest h.1]
-    simp only [length_append_sub, ↓reduceIte]
-     rw [ih v rest h.1]
-    simp only [length_append_sub, ↓reduceIte]
-     rw [ih v rest h.1]
-    simp only [length_append_sub, ↓reduceIte]
-     rw [ih v rest h.1]
-    simp only [length_append_sub, ↓reduceIte]
-     rw [ih v rest h.1]
-    simp only [length_append_sub, ↓reduceIte]
-     rw [ih v rest h.1]
-    simp only [length_append_sub, ↓reduceIte]
-     rw [ih v rest h.1]
-    simp only [length_append_sub, ↓reduceIte]
-r    rw [ih v rest h.1]
-    simp only [length_append_sub, ↓reduceIte]
-w    rw [ih v rest h.1]
-    simp only [length_append_sub, ↓reduceIte]
-     rw [ih v rest h.1]
-    simp only [length_append_sub, ↓reduceIte]
-[    rw [ih v rest h.1]
-    simp only [length_append_sub, ↓reduceIte]
-i    rw [ih v rest h.1]
-    simp only [length_append_sub, ↓reduceIte]
-h    rw [ih v rest h.1]
-    simp only [length_append_sub, ↓reduceIte]
-a    rw [ih v rest h.1]
-    simp only [length_append_sub, ↓reduceIte]
-     rw [ih v rest h.1]
-    simp only [length_append_sub, ↓reduceIte]
-x    rw [ih v rest h.1]
-    simp only [length_append_sub, ↓reduceIte]
-     rw [ih v rest h.1]
-    simp only [length_append_sub, ↓reduceIte]
-_    rw [ih v rest h.1]
-    simp only [length_append_sub, ↓reduceIte]
-     rw [ih v rest h.1]
-    simp only [length_append_sub, ↓reduceIte]
-h    rw [ih v rest h.1]
-    simp only [length_append_sub, ↓reduceIte]
-.    rw [ih v rest h.1]
-    simp only [length_append_sub, ↓reduceIte]
-1    rw [ih v rest h.1]
-    simp only [length_append_sub, ↓reduceIte]
-]    rw [ih v rest h.1]
-    simp only [length_append_sub, ↓reduceIte]
-
-    rw [ih v rest h.1]
-    simp only [length_append_sub, ↓reduceIte]
-     rw [ih v rest h.1]
-    simp only [length_append_sub, ↓reduceIte]
-     rw [ih v rest h.1]
-    simp only [length_append_sub, ↓reduceIte]
-     rw [ih v rest h.1]
-    simp only [length_append_sub, ↓reduceIte]
-     rw [ih v rest h.1]
-    simp only [length_append_sub, ↓reduceIte]
-     rw [ih v rest h.1]
-    simp only [length_append_sub, ↓reduceIte]
-     rw [ih v rest h.1]
-    simp only [length_append_sub, ↓reduceIte]
-s    rw [ih v rest h.1]
-    simp only [length_append_sub, ↓reduceIte]
-i    rw [ih v rest h.1]
-    simp only [length_append_sub, ↓reduceIte]
-m    rw [ih v rest h.1]
-    simp only [length_append_sub, ↓reduceIte]
-p    rw [ih v rest h.1]
-    simp only [length_append_sub, ↓reduceIte]
-     rw [ih v rest h.1]
-    simp only [length_append_sub, ↓reduceIte]
-o    rw [ih v rest h.1]
-    simp only [length_append_sub, ↓reduceIte]
-n    rw [ih v rest h.1]
-    simp only [length_append_sub, ↓reduceIte]
-l    rw [ih v rest h.1]
-    simp only [length_append_sub, ↓reduceIte]
-y    rw [ih v rest h.1]
-    simp only [length_append_sub, ↓reduceIte]
-     rw [ih v rest h.1]
-    simp only [length_append_sub, ↓reduceIte]
-[    rw [ih v rest h.1]
-    simp only [length_append_sub, ↓reduceIte]
-]    rw [ih v rest h.1]
-    simp only [length_append_sub, ↓reduceIte]
-
-    rw [ih v rest h.1]
-    simp only [length_append_sub, ↓reduceIte]
-     rw [ih v rest h.1]
-    simp only [length_append_sub, ↓reduceIte]
-     rw [ih v rest h.1]
-    simp only [length_append_sub, ↓reduceIte]
-     rw [ih v rest h.1]
-    simp only [length_append_sub, ↓reduceIte]
-     rw [ih v rest h.1]
-    simp only [length_append_sub, ↓reduceIte]
-     rw [ih v rest h.1]
-    simp only [length_append_sub, ↓reduceIte]
-     rw [ih v rest h.1]
-    simp only [length_append_sub, ↓reduceIte]
-r    rw [ih v rest h.1]
-    simp only [length_append_sub, ↓reduceIte]
-w    rw [ih v rest h.1]
-    simp only [length_append_sub, ↓reduceIte]
-     rw [ih v rest h.1]
-    simp only [length_append_sub, ↓reduceIte]
-[    rw [ih v rest h.1]
-    simp only [length_append_sub, ↓reduceIte]
-i    rw [ih v rest h.1]
-    simp only [length_append_sub, ↓reduceIte]
-h    rw [ih v rest h.1]
-    simp only [length_append_sub, ↓reduceIte]
-b    rw [ih v rest h.1]
-    simp only [length_append_sub, ↓reduceIte]
-     rw [ih v rest h.1]
-    simp only [length_append_sub, ↓reduceIte]
-y    rw [ih v rest h.1]
-    simp only [length_append_sub, ↓reduceIte]
-     rw [ih v rest h.1]
-    simp only [length_append_sub, ↓reduceIte]
-_    rw [ih v rest h.1]
-    simp only [length_append_sub, ↓reduceIte]
-     rw [ih v rest h.1]
-    simp only [length_append_sub, ↓reduceIte]
-h    rw [ih v rest h.1]
-    simp only [length_append_sub, ↓reduceIte]
-.    rw [ih v rest h.1]
-    simp only [length_append_sub, ↓reduceIte]
-2    rw [ih v rest h.1]
-    simp only [length_append_sub, ↓reduceIte]
-]    rw [ih v rest h.1]
-    simp only [length_append_sub, ↓reduceIte]
-
-    rw [ih v rest h.1]
-    simp only [length_append_sub, ↓reduceIte]
-     rw [ih v rest h.1]
-    simp only [length_append_sub, ↓reduceIte]
-     rw [ih v rest h.1]
-    simp only [length_append_sub, ↓reduceIte]
-|    rw [ih v rest h.1]
-    simp only [length_append_sub, ↓reduceIte]
-     rw [ih v rest h.1]
-    simp only [length_append_sub, ↓reduceIte]
-i    rw [ih v rest h.1]
-    simp only [length_append_sub, ↓reduceIte]
-t    rw [ih v rest h.1]
-    simp only [length_append_sub, ↓reduceIte]
-e    rw [ih v rest h.1]
-    simp only [length_append_sub, ↓reduceIte]
-     rw [ih v rest h.1]
-    simp only [length_append_sub, ↓reduceIte]
-l    rw [ih v rest h.1]
-    simp only [length_append_sub, ↓reduceIte]
-o    rw [ih v rest h.1]
-    simp only [length_append_sub, ↓reduceIte]
-     rw [ih v rest h.1]
-    simp only [length_append_sub, ↓reduceIte]
-h    rw [ih v rest h.1]
-    simp only [length_append_sub, ↓reduceIte]
-i    rw [ih v rest h.1]
-    simp only [length_append_sub, ↓reduceIte]
-     rw [ih v rest h.1]
-    simp only [length_append_sub, ↓reduceIte]
-a    rw [ih v rest h.1]
-    simp only [length_append_sub, ↓reduceIte]
-     rw [ih v rest h.1]
-    simp only [length_append_sub, ↓reduceIte]
-b    rw [ih v rest h.1]
-    simp only [length_append_sub, ↓reduceIte]
-     rw [ih v rest h.1]
-    simp only [length_append_sub, ↓reduceIte]
-i    rw [ih v rest h.1]
-    simp only [length_append_sub, ↓reduceIte]
-h    rw [ih v rest h.1]
-    simp only [length_append_sub, ↓reduceIte]
-a    rw [ih v rest h.1]
-    simp only [length_append_sub, ↓reduceIte]
-     rw [ih v rest h.1]
-    simp only [length_append_sub, ↓reduceIte]
-i    rw [ih v rest h.1]
-    simp only [length_append_sub, ↓reduceIte]
-h    rw [ih v rest h.1]
-    simp only [length_append_sub, ↓reduceIte]
-b    rw [ih v rest h.1]
-    simp only [length_append_sub, ↓reduceIte]
-     rw [ih v rest h.1]
-    simp only [length_append_sub, ↓reduceIte]
-=    rw [ih v rest h.1]
-    simp only [length_append_sub, ↓reduceIte]
->    rw [ih v rest h.1]
-    simp only [length_append_sub, ↓reduceIte]
-
-    rw [ih v rest h.1]
-    simp only [length_append_sub, ↓reduceIte]
-     rw [ih v rest h.1]
-    simp only [length_append_sub, ↓reduceIte]
-     rw [ih v rest h.1]
-    simp only [length_append_sub, ↓reduceIte]
-     rw [ih v rest h.1]
-    simp only [length_append_sub, ↓reduceIte]
-     rw [ih v rest h.1]
-    simp only [length_append_sub, ↓reduceIte]
-i    rw [ih v rest h.1]
-    simp only [length_append_sub, ↓reduceIte]
-n    rw [ih v rest h.1]
-    simp only [length_append_sub, ↓reduceIte]
-t    rw [ih v rest h.1]
-    simp only [length_append_sub, ↓reduceIte]
-r    rw [ih v rest h.1]
-    simp only [length_append_sub, ↓reduceIte]
-o    rw [ih v rest h.1]
-    simp only [length_append_sub, ↓reduceIte]
-     rw [ih v rest h.1]
-    simp only [length_append_sub, ↓reduceIte]
-v    rw [ih v rest h.1]
-    simp only [length_append_sub, ↓reduceIte]
-     rw [ih v rest h.1]
-    simp only [length_append_sub, ↓reduceIte]
-r    rw [ih v rest h.1]
-    simp only [length_append_sub, ↓reduceIte]
-e    rw [ih v rest h.1]
-    simp only [length_append_sub, ↓reduceIte]
-s    rw [ih v rest h.1]
-    simp only [length_append_sub, ↓reduceIte]
-t    rw [ih v rest h.1]
-    simp only [length_append_sub, ↓reduceIte]
-     rw [ih v rest h.1]
-    simp only [length_append_sub, ↓reduceIte]
-h    rw [ih v rest h.1]
-    simp only [length_append_sub, ↓reduceIte]
-
-    rw [ih v rest h.1]
-    simp only [length_append_sub, ↓reduceIte]
-     rw [ih v rest h.1]
-    simp only [length_append_sub, ↓reduceIte]
-     rw [ih v rest h.1]
-    simp only [length_append_sub, ↓reduceIte]
-     rw [ih v rest h.1]
-    simp only [length_append_sub, ↓reduceIte]
-     rw [ih v rest h.1]
-    simp only [length_append_sub, ↓reduceIte]
-s    rw [ih v rest h.1]
-    simp only [length_append_sub, ↓reduceIte]
-i    rw [ih v rest h.1]
-    simp only [length_append_sub, ↓reduceIte]
-m    rw [ih v rest h.1]
-    simp only [length_append_sub, ↓reduceIte]
-p    rw [ih v rest h.1]
-    simp only [length_append_sub, ↓reduceIte]
-     rw [ih v rest h.1]
-    simp only [length_append_sub, ↓reduceIte]
-o    rw [ih v rest h.1]
-    simp only [length_append_sub, ↓reduceIte]
-n    rw [ih v rest h.1]
-    simp only [length_append_sub, ↓reduceIte]
-l    rw [ih v rest h.1]
-    simp only [length_append_sub, ↓reduceIte]
-y    rw [ih v rest h.1]
-    simp only [length_append_sub, ↓reduceIte]
-     rw [ih v rest h.1]
-    simp only [length_append_sub, ↓reduceIte]
-[    rw [ih v rest h.1]
-    simp only [length_append_sub, ↓reduceIte]
-W    rw [ih v rest h.1]
-    simp only [length_append_sub, ↓reduceIte]
-T    rw [ih v rest h.1]
-    simp only [length_append_sub, ↓reduceIte]
-]    rw [ih v rest h.1]
-    simp only [length_append_sub, ↓reduceIte]
-     rw [ih v rest h.1]
-    simp only [length_append_sub, ↓reduceIte]
-a    rw [ih v rest h.1]
-    simp only [length_append_sub, ↓reduceIte]
-t    rw [ih v rest h.1]
-    simp only [length_append_sub, ↓reduceIte]
-     rw [ih v rest h.1]
-    simp only [length_append_sub, ↓reduceIte]
-h    rw [ih v rest h.1]
-    simp only [length_append_sub, ↓reduceIte]
-
-    rw [ih v rest h.1]
-    simp only [length_append_sub, ↓reduceIte]
-     rw [ih v rest h.1]
-    simp only [length_append_sub, ↓reduceIte]
-     rw [ih v rest h.1]
-    simp only [length_append_sub, ↓reduceIte]
-     rw [ih v rest h.1]
-    simp only [length_append_sub, ↓reduceIte]
-     rw [ih v rest h.1]
-    simp only [length_append_sub, ↓reduceIte]
-s    rw [ih v rest h.1]
-    simp only [length_append_sub, ↓reduceIte]
-i    rw [ih v rest h.1]
-    simp only [length_append_sub, ↓reduceIte]
-m    rw [ih v rest h.1]
-    simp only [length_append_sub, ↓reduceIte]
-p    rw [ih v rest h.1]
-    simp only [length_append_sub, ↓reduceIte]
-     rw [ih v rest h.1]
-    simp only [length_append_sub, ↓reduceIte]
-o    rw [ih v rest h.1]
-    simp only [length_append_sub, ↓reduceIte]
-n    rw [ih v rest h.1]
-    simp only [length_append_sub, ↓reduceIte]
-l    rw [ih v rest h.1]
-    simp only [length_append_sub, ↓reduceIte]
-y    rw [ih v rest h.1]
-    simp only [length_append_sub, ↓reduceIte]
-     rw [ih v rest h.1]
-    simp only [length_append_sub, ↓reduceIte]
-[    rw [ih v rest h.1]
-    simp only [length_append_sub, ↓reduceIte]
-e    rw [ih v rest h.1]
-    simp only [length_append_sub, ↓reduceIte]
-n    rw [ih v rest h.1]
-    simp only [length_append_sub, ↓reduceIte]
-c    rw [ih v rest h.1]
-    simp only [length_append_sub, ↓reduceIte]
-,    rw [ih v rest h.1]
-    simp only [length_append_sub, ↓reduceIte]
-     rw [ih v rest h.1]
-    simp only [length_append_sub, ↓reduceIte]
-d    rw [ih v rest h.1]
-    simp only [length_append_sub, ↓reduceIte]
-e    rw [ih v rest h.1]
-    simp only [length_append_sub, ↓reduceIte]
-c    rw [ih v rest h.1]
-    simp only [length_append_sub, ↓reduceIte]
-]    rw [ih v rest h.1]
-    simp only [length_append_sub, ↓reduceIte]
-
-    rw [ih v rest h.1]
-    simp only [length_append_sub, ↓reduceIte]
-     rw [ih v rest h.1]
-    simp only [length_append_sub, ↓reduceIte]
-     rw [ih v rest h.1]
-    simp only [length_append_sub, ↓reduceIte]
-     rw [ih v rest h.1]
-    simp only [length_append_sub, ↓reduceIte]
-     rw [ih v rest h.1]
-    simp only [length_append_sub, ↓reduceIte]
-s    rw [ih v rest h.1]
-    simp only [length_append_sub, ↓reduceIte]
-p    rw [ih v rest h.1]
-    simp only [length_append_sub, ↓reduceIte]
-l    rw [ih v rest h.1]
-    simp only [length_append_sub, ↓reduceIte]
-i    rw [ih v rest h.1]
-    simp only [length_append_sub, ↓reduceIte]
-t    rw [ih v rest h.1]
-    simp only [length_append_sub, ↓reduceIte]
-
-    rw [ih v rest h.1]
-    simp only [length_append_sub, ↓reduceIte]
-     rw [ih v rest h.1]
-    simp only [length_append_sub, ↓reduceIte]
-     rw [ih v rest h.1]
-    simp only [length_append_sub, ↓reduceIte]
-     rw [ih v rest h.1]
-    simp only [length_append_sub, ↓reduceIte]
-     rw [ih v rest h.1]
-    simp only [length_append_sub, ↓reduceIte]
-·    rw [ih v rest h.1]
-    simp only [length_append_sub, ↓reduceIte]
-     rw [ih v rest h.1]
-    simp only [length_append_sub, ↓reduceIte]
-r    rw [ih v rest h.1]
-    simp only [length_append_sub, ↓reduceIte]
-e    rw [ih v rest h.1]
-    simp only [length_append_sub, ↓reduceIte]
-n    rw [ih v rest h.1]
-    simp only [length_append_sub, ↓reduceIte]
-a    rw [ih v rest h.1]
-    simp only [length_append_sub, ↓reduceIte]
-m    rw [ih v rest h.1]
-    simp only [length_append_sub, ↓reduceIte]
-e    rw [ih v rest h.1]
-    simp only [length_append_sub, ↓reduceIte]
-_    rw [ih v rest h.1]
-    simp only [length_append_sub, ↓reduceIte]
-i    rw [ih v rest h.1]
-    simp only [length_append_sub, ↓reduceIte]
-     rw [ih v rest h.1]
-    simp only [length_append_sub, ↓reduceIte]
-h    rw [ih v rest h.1]
-    simp only [length_append_sub, ↓reduceIte]
-c    rw [ih v rest h.1]
-    simp only [length_append_sub, ↓reduceIte]
-;    rw [ih v rest h.1]
-    simp only [length_append_sub, ↓reduceIte]
-     rw [ih v rest h.1]
-    simp only [length_append_sub, ↓reduceIte]
-e    rw [ih v rest h.1]
-    simp only [length_append_sub, ↓reduceIte]
-x    rw [ih v rest h.1]
-    simp only [length_append_sub, ↓reduceIte]
-a    rw [ih v rest h.1]
-    simp only [length_append_sub, ↓reduceIte]
-c    rw [ih v rest h.1]
-    simp only [length_append_sub, ↓reduceIte]
-t    rw [ih v rest h.1]
-    simp only [length_append_sub, ↓reduceIte]
-     rw [ih v rest h.1]
-    simp only [length_append_sub, ↓reduceIte]
-i    rw [ih v rest h.1]
-    simp only [length_append_sub, ↓reduceIte]
-h    rw [ih v rest h.1]
-    simp only [length_append_sub, ↓reduceIte]
-a    rw [ih v rest h.1]
-    simp only [length_append_sub, ↓reduceIte]
-     rw [ih v rest h.1]
-    simp only [length_append_sub, ↓reduceIte]
-v    rw [ih v rest h.1]
-    simp only [length_append_sub, ↓reduceIte]
-     rw [ih v rest h.1]
-    simp only [length_append_sub, ↓reduceIte]
-r    rw [ih v rest h.1]
-    simp only [length_append_sub, ↓reduceIte]
-e    rw [ih v rest h.1]
-    simp only [length_append_sub, ↓reduceIte]
-s    rw [ih v rest h.1]
-    simp only [length_append_sub, ↓reduceIte]
-t    rw [ih v rest h.1]
-    simp only [length_append_sub, ↓reduceIte]
-     rw [ih v rest h.1]
-    simp only [length_append_sub, ↓reduceIte]
-(    rw [ih v rest h.1]
-    simp only [length_append_sub, ↓reduceIte]
-b    rw [ih v rest h.1]
-    simp only [length_append_sub, ↓reduceIte]
-y    rw [ih v rest h.1]
-    simp only [length_append_sub, ↓reduceIte]
-     rw [ih v rest h.1]
-    simp only [length_append_sub, ↓reduceIte]
-s    rw [ih v rest h.1]
-    simp only [length_append_sub, ↓reduceIte]
-i    rw [ih v rest h.1]
-    simp only [length_append_sub, ↓reduceIte]
-m    rw [ih v rest h.1]
-    simp only [length_append_sub, ↓reduceIte]
-p    rw [ih v rest h.1]
-    simp only [length_append_sub, ↓reduceIte]
-a    rw [ih v rest h.1]
-    simp only [length_append_sub, ↓reduceIte]
-     rw [ih v rest h.1]
-    simp only [length_append_sub, ↓reduceIte]
-[    rw [ih v rest h.1]
-    simp only [length_append_sub, ↓reduceIte]
-h    rw [ih v rest h.1]
-    simp only [length_append_sub, ↓reduceIte]
-c    rw [ih v rest h.1]
-    simp only [length_append_sub, ↓reduceIte]
-]    rw [ih v rest h.1]
-    simp only [length_append_sub, ↓reduceIte]
-     rw [ih v rest h.1]
-    simp only [length_append_sub, ↓reduceIte]
-u    rw [ih v rest h.1]
-    simp only [length_append_sub, ↓reduceIte]
-s    rw [ih v rest h.1]
-    simp only [length_append_sub, ↓reduceIte]
-i    rw [ih v rest h.1]
-    simp only [length_append_sub, ↓reduceIte]
-n    rw [ih v rest h.1]
-    simp only [length_append_sub, ↓reduceIte]
-g    rw [ih v rest h.1]
-    simp only [length_append_sub, ↓reduceIte]
-     rw [ih v rest h.1]
-    simp only [length_append_sub, ↓reduceIte]
-h    rw [ih v rest h.1]
-    simp only [length_append_sub, ↓reduceIte]
-)    rw [ih v rest h.1]
-    simp only [length_append_sub, ↓reduceIte]
-
-    rw [ih v rest h.1]
-    simp only [length_append_sub, ↓reduceIte]
-     rw [ih v rest h.1]
-    simp only [length_append_sub, ↓reduceIte]
-     rw [ih v rest h.1]
-    simp only [length_append_sub, ↓reduceIte]
-     rw [ih v rest h.1]
-    simp only [length_append_sub, ↓reduceIte]
-     rw [ih v rest h.1]
-    simp only [length_append_sub, ↓reduceIte]
-·    rw [ih v rest h.1]
-    simp only [length_append_sub, ↓reduceIte]
-     rw [ih v rest h.1]
-    simp only [length_append_sub, ↓reduceIte]
-r    rw [ih v rest h.1]
-    simp only [length_append_sub, ↓reduceIte]
-e    rw [ih v rest h.1]
-    simp only [length_append_sub, ↓reduceIte]
-n    rw [ih v rest h.1]
-    simp only [length_append_sub, ↓reduceIte]
-a    rw [ih v rest h.1]
-    simp only [length_append_sub, ↓reduceIte]
-m    rw [ih v rest h.1]
-    simp only [length_append_sub, ↓reduceIte]
-e    rw [ih v rest h.1]
-    simp only [length_append_sub, ↓reduceIte]
-_    rw [ih v rest h.1]
-    simp only [length_append_sub, ↓reduceIte]
-i    rw [ih v rest h.1]
-    simp only [length_append_sub, ↓reduceIte]
-     rw [ih v rest h.1]
-    simp only [length_append_sub, ↓reduceIte]
-h    rw [ih v rest h.1]
-    simp only [length_append_sub, ↓reduceIte]
-c    rw [ih v rest h.1]
-    simp only [length_append_sub, ↓reduceIte]
-;    rw [ih v rest h.1]
-    simp only [length_append_sub, ↓reduceIte]
-     rw [ih v rest h.1]
-    simp only [length_append_sub, ↓reduceIte]
-e    rw [ih v rest h.1]
-    simp only [length_append_sub, ↓reduceIte]
-x    rw [ih v rest h.1]
-    simp only [length_append_sub, ↓reduceIte]
-a    rw [ih v rest h.1]
-    simp only [length_append_sub, ↓reduceIte]
-c    rw [ih v rest h.1]
-    simp only [length_append_sub, ↓reduceIte]
-t    rw [ih v rest h.1]
-    simp only [length_append_sub, ↓reduceIte]
-     rw [ih v rest h.1]
-    simp only [length_append_sub, ↓reduceIte]
-i    rw [ih v rest h.1]
-    simp only [length_append_sub, ↓reduceIte]
-h    rw [ih v rest h.1]
-    simp only [length_append_sub, ↓reduceIte]
-b    rw [ih v rest h.1]
-    simp only [length_append_sub, ↓reduceIte]
-     rw [ih v rest h.1]
-    simp only [length_append_sub, ↓reduceIte]
-v    rw [ih v rest h.1]
-    simp only [length_append_sub, ↓reduceIte]
-     rw [ih v rest h.1]
-    simp only [length_append_sub, ↓reduceIte]
-r    rw [ih v rest h.1]
-    simp only [length_append_sub, ↓reduceIte]
-e    rw [ih v rest h.1]
-    simp only [length_append_sub, ↓reduceIte]
-s    rw [ih v rest h.1]
-    simp only [length_append_sub, ↓reduceIte]
-t    rw [ih v rest h.1]
-    simp only [length_append_sub, ↓reduceIte]
-     rw [ih v rest h.1]
-    simp only [length_append_sub, ↓reduceIte]
-(    rw [ih v rest h.1]
-    simp only [length_append_sub, ↓reduceIte]
-b    rw [ih v rest h.1]
-    simp only [length_append_sub, ↓reduceIte]
-y    rw [ih v rest h.1]
-    simp only [length_append_sub, ↓reduceIte]
-     rw [ih v rest h.1]
-    simp only [length_append_sub, ↓reduceIte]
-s    rw [ih v rest h.1]
-    simp only [length_append_sub, ↓reduceIte]
-i    rw [ih v rest h.1]
-    simp only [length_append_sub, ↓reduceIte]
-m    rw [ih v rest h.1]
-    simp only [length_append_sub, ↓reduceIte]
-p    rw [ih v rest h.1]
-    simp only [length_append_sub, ↓reduceIte]
-a    rw [ih v rest h.1]
-    simp only [length_append_sub, ↓reduceIte]
-     rw [ih v rest h.1]
-    simp only [length_append_sub, ↓reduceIte]
-[    rw [ih v rest h.1]
-    simp only [length_append_sub, ↓reduceIte]
-h    rw [ih v rest h.1]
-    simp only [length_append_sub, ↓reduceIte]
-c    rw [ih v rest h.1]
-    simp only [length_append_sub, ↓reduceIte]
-]    rw [ih v rest h.1]
-    simp only [length_append_sub, ↓reduceIte]
-     rw [ih v rest h.1]
-    simp only [length_append_sub, ↓reduceIte]
-u    rw [ih v rest h.1]
-    simp only [length_append_sub, ↓reduceIte]
-s    rw [ih v rest h.1]
-    simp only [length_append_sub, ↓reduceIte]
-i    rw [ih v rest h.1]
-    simp only [length_append_sub, ↓reduceIte]
-n    rw [ih v rest h.1]
-    simp only [length_append_sub, ↓reduceIte]
-g    rw [ih v rest h.1]
-    simp only [length_append_sub, ↓reduceIte]
-     rw [ih v rest h.1]
-    simp only [length_append_sub, ↓reduceIte]
-h    rw [ih v rest h.1]
-    simp only [length_append_sub, ↓reduceIte]
-)    rw [ih v rest h.1]
-    simp only [length_append_sub, ↓reduceIte]
-
-    rw [ih v rest h.1]
-    simp only [length_append_sub, ↓reduceIte]
-     rw [ih v rest h.1]
-    simp only [length_append_sub, ↓reduceIte]
-     rw [ih v rest h.1]
-    simp only [length_append_sub, ↓reduceIte]
-|    rw [ih v rest h.1]
-    simp only [length_append_sub, ↓reduceIte]
-     rw [ih v rest h.1]
-    simp only [length_append_sub, ↓reduceIte]
-a    rw [ih v rest h.1]
-    simp only [length_append_sub, ↓reduceIte]
-r    rw [ih v rest h.1]
-    simp only [length_append_sub, ↓reduceIte]
-r    rw [ih v rest h.1]
-    simp only [length_append_sub, ↓reduceIte]
-     rw [ih v rest h.1]
-    simp only [length_append_sub, ↓reduceIte]
-c    rw [ih v rest h.1]
-    simp only [length_append_sub, ↓reduceIte]
-     rw [ih v rest h.1]
-    simp only [length_append_sub, ↓reduceIte]
-e    rw [ih v rest h.1]
-    simp only [length_append_sub, ↓reduceIte]
-     rw [ih v rest h.1]
-    simp only [length_append_sub, ↓reduceIte]
-i    rw [ih v rest h.1]
-    simp only [length_append_sub, ↓reduceIte]
-h    rw [ih v rest h.1]
-    simp only [length_append_sub, ↓reduceIte]
-     rw [ih v rest h.1]
-    simp only [length_append_sub, ↓reduceIte]
-=    rw [ih v rest h.1]
-    simp only [length_append_sub, ↓reduceIte]
->    rw [ih v rest h.1]
-    simp only [length_append_sub, ↓reduceIte]
-
-    rw [ih v rest h.1]
-    simp only [length_append_sub, ↓reduceIte]
-     rw [ih v rest h.1]
-    simp only [length_append_sub, ↓reduceIte]
-     rw [ih v rest h.1]
-    simp only [length_append_sub, ↓reduceIte]
-     rw [ih v rest h.1]
-    simp only [length_append_sub, ↓reduceIte]
-     rw [ih v rest h.1]
-    simp only [length_append_sub, ↓reduceIte]
-i    rw [ih v rest h.1]
-    simp only [length_append_sub, ↓reduceIte]
-n    rw [ih v rest h.1]
-    simp only [length_append_sub, ↓reduceIte]
-t    rw [ih v rest h.1]
-    simp only [length_append_sub, ↓reduceIte]
-r    rw [ih v rest h.1]
-    simp only [length_append_sub, ↓reduceIte]
-o    rw [ih v rest h.1]
-    simp only [length_append_sub, ↓reduceIte]
-     rw [ih v rest h.1]
-    simp only [length_append_sub, ↓reduceIte]
-v    rw [ih v rest h.1]
-    simp only [length_append_sub, ↓reduceIte]
-     rw [ih v rest h.1]
-    simp only [length_append_sub, ↓reduceIte]
-r    rw [ih v rest h.1]
-    simp only [length_append_sub, ↓reduceIte]
-e    rw [ih v rest h.1]
-    simp only [length_append_sub, ↓reduceIte]
-s    rw [ih v rest h.1]
-    simp only [length_append_sub, ↓reduceIte]
-t    rw [ih v rest h.1]
-    simp only [length_append_sub, ↓reduceIte]
-     rw [ih v rest h.1]
-    simp only [length_append_sub, ↓reduceIte]
-h    rw [ih v rest h.1]
-    simp only [length_append_sub, ↓reduceIte]
-
-    rw [ih v rest h.1]
-    simp only [length_append_sub, ↓reduceIte]
-     rw [ih v rest h.1]
-    simp only [length_append_sub, ↓reduceIte]
-     rw [ih v rest h.1]
-    simp only [length_append_sub, ↓reduceIte]
-     rw [ih v rest h.1]
-    simp only [length_append_sub, ↓reduceIte]
-     rw [ih v rest h.1]
-    simp only [length_append_sub, ↓reduceIte]
-c    rw [ih v rest h.1]
-    simp only [length_append_sub, ↓reduceIte]
-a    rw [ih v rest h.1]
-    simp only [length_append_sub, ↓reduceIte]
-s    rw [ih v rest h.1]
-    simp only [length_append_sub, ↓reduceIte]
-e    rw [ih v rest h.1]
-    simp only [length_append_sub, ↓reduceIte]
-s    rw [ih v rest h.1]
-    simp only [length_append_sub, ↓reduceIte]
-     rw [ih v rest h.1]
-    simp only [length_append_sub, ↓reduceIte]
-v    rw [ih v rest h.1]
-    simp only [length_append_sub, ↓reduceIte]
-     rw [ih v rest h.1]
-    simp only [length_append_sub, ↓reduceIte]
-<    rw [ih v rest h.1]
-    simp only [length_append_sub, ↓reduceIte]
-;    rw [ih v rest h.1]
-    simp only [length_append_sub, ↓reduceIte]
->    rw [ih v rest h.1]
-    simp only [length_append_sub, ↓reduceIte]
-     rw [ih v rest h.1]
-    simp only [length_append_sub, ↓reduceIte]
-s    rw [ih v rest h.1]
-    simp only [length_append_sub, ↓reduceIte]
-i    rw [ih v rest h.1]
-    simp only [length_append_sub, ↓reduceIte]
-m    rw [ih v rest h.1]
-    simp only [length_append_sub, ↓reduceIte]
-p    rw [ih v rest h.1]
-    simp only [length_append_sub, ↓reduceIte]
-     rw [ih v rest h.1]
-    simp only [length_append_sub, ↓reduceIte]
-o    rw [ih v rest h.1]
-    simp only [length_append_sub, ↓reduceIte]
-n    rw [ih v rest h.1]
-    simp only [length_append_sub, ↓reduceIte]
-l    rw [ih v rest h.1]
-    simp only [length_append_sub, ↓reduceIte]
-y    rw [ih v rest h.1]
-    simp only [length_append_sub, ↓reduceIte]
-     rw [ih v rest h.1]
-    simp only [length_append_sub, ↓reduceIte]
-[    rw [ih v rest h.1]
-    simp only [length_append_sub, ↓reduceIte]
-W    rw [ih v rest h.1]
-    simp only [length_append_sub, ↓reduceIte]
-T    rw [ih v rest h.1]
-    simp only [length_append_sub, ↓reduceIte]
-,    rw [ih v rest h.1]
-    simp only [length_append_sub, ↓reduceIte]
-     rw [ih v rest h.1]
-    simp only [length_append_sub, ↓reduceIte]
-B    rw [ih v rest h.1]
-    simp only [length_append_sub, ↓reduceIte]
-o    rw [ih v rest h.1]
-    simp only [length_append_sub, ↓reduceIte]
-o    rw [ih v rest h.1]
-    simp only [length_append_sub, ↓reduceIte]
-l    rw [ih v rest h.1]
-    simp only [length_append_sub, ↓reduceIte]
-.    rw [ih v rest h.1]
-    simp only [length_append_sub, ↓reduceIte]
-f    rw [ih v rest h.1]
-    simp only [length_append_sub, ↓reduceIte]
-a    rw [ih v rest h.1]
-    simp only [length_append_sub, ↓reduceIte]
-l    rw [ih v rest h.1]
-    simp only [length_append_sub, ↓reduceIte]
-s    rw [ih v rest h.1]
-    simp only [length_append_sub, ↓reduceIte]
-e    rw [ih v rest h.1]
-    simp only [length_append_sub, ↓reduceIte]
-_    rw [ih v rest h.1]
-    simp only [length_append_sub, ↓reduceIte]
-e    rw [ih v rest h.1]
-    simp only [length_append_sub, ↓reduceIte]
-q    rw [ih v rest h.1]
-    simp only [length_append_sub, ↓reduceIte]
-_    rw [ih v rest h.1]
-    simp only [length_append_sub, ↓reduceIte]
-t    rw [ih v rest h.1]
-    simp only [length_append_sub, ↓reduceIte]
-r    rw [ih v rest h.1]
-    simp only [length_append_sub, ↓reduceIte]
-u    rw [ih v rest h.1]
-    simp only [length_append_sub, ↓reduceIte]
-e    rw [ih v rest h.1]
-    simp only [length_append_sub, ↓reduceIte]
-,    rw [ih v rest h.1]
-    simp only [length_append_sub, ↓reduceIte]
-     rw [ih v rest h.1]
-    simp only [length_append_sub, ↓reduceIte]
-B    rw [ih v rest h.1]
-    simp only [length_append_sub, ↓reduceIte]
-o    rw [ih v rest h.1]
-    simp only [length_append_sub, ↓reduceIte]
-o    rw [ih v rest h.1]
-    simp only [length_append_sub, ↓reduceIte]
-l    rw [ih v rest h.1]
-    simp only [length_append_sub, ↓reduceIte]
-.    rw [ih v rest h.1]
-    simp only [length_append_sub, ↓reduceIte]
-a    rw [ih v rest h.1]
-    simp only [length_append_sub, ↓reduceIte]
-n    rw [ih v rest h.1]
-    simp only [length_append_sub, ↓reduceIte]
-d    rw [ih v rest h.1]
-    simp only [length_append_sub, ↓reduceIte]
-_    rw [ih v rest h.1]
-    simp only [length_append_sub, ↓reduceIte]
-e    rw [ih v rest h.1]
-    simp only [length_append_sub, ↓reduceIte]
-q    rw [ih v rest h.1]
-    simp only [length_append_sub, ↓reduceIte]
-_    rw [ih v rest h.1]
-    simp only [length_append_sub, ↓reduceIte]
-t    rw [ih v rest h.1]
-    simp only [length_append_sub, ↓reduceIte]
-r    rw [ih v rest h.1]
-    simp only [length_append_sub, ↓reduceIte]
-u    rw [ih v rest h.1]
-    simp only [length_append_sub, ↓reduceIte]
-e    rw [ih v rest h.1]
-    simp only [length_append_sub, ↓reduceIte]
-,    rw [ih v rest h.1]
-    simp only [length_append_sub, ↓reduceIte]
-     rw [ih v rest h.1]
-    simp only [length_append_sub, ↓reduceIte]
-b    rw [ih v rest h.1]
-    simp only [length_append_sub, ↓reduceIte]
-e    rw [ih v rest h.1]
-    simp only [length_append_sub, ↓reduceIte]
-q    rw [ih v rest h.1]
-    simp only [length_append_sub, ↓reduceIte]
-_    rw [ih v rest h.1]
-    simp only [length_append_sub, ↓reduceIte]
-i    rw [ih v rest h.1]
-    simp only [length_append_sub, ↓reduceIte]
-f    rw [ih v rest h.1]
-    simp only [length_append_sub, ↓reduceIte]
-f    rw [ih v rest h.1]
-    simp only [length_append_sub, ↓reduceIte]
-_    rw [ih v rest h.1]
-    simp only [length_append_sub, ↓reduceIte]
-e    rw [ih v rest h.1]
-    simp only [length_append_sub, ↓reduceIte]
-q    rw [ih v rest h.1]
-    simp only [length_append_sub, ↓reduceIte]
-]    rw [ih v rest h.1]
-    simp only [length_append_sub, ↓reduceIte]
-     rw [ih v rest h.1]
-    simp only [length_append_sub, ↓reduceIte]
-a    rw [ih v rest h.1]
-    simp only [length_append_sub, ↓reduceIte]
-t    rw [ih v rest h.1]
-    simp only [length_append_sub, ↓reduceIte]
-     rw [ih v rest h.1]
-    simp only [length_append_sub, ↓reduceIte]
-h    rw [ih v rest h.1]
-    simp only [length_append_sub, ↓reduceIte]
-
-    rw [ih v rest h.1]
-    simp only [length_append_sub, ↓reduceIte]
-     rw [ih v rest h.1]
-    simp only [length_append_sub, ↓reduceIte]
-     rw [ih v rest h.1]
-    simp only [length_append_sub, ↓reduceIte]
-     rw [ih v rest h.1]
-    simp only [length_append_sub, ↓reduceIte]
-     rw [ih v rest h.1]
-    simp only [length_append_sub, ↓reduceIte]
-c    rw [ih v rest h.1]
-    simp only [length_append_sub, ↓reduceIte]
-a    rw [ih v rest h.1]
-    simp only [length_append_sub, ↓reduceIte]
-s    rw [ih v rest h.1]
-    simp only [length_append_sub, ↓reduceIte]
-e    rw [ih v rest h.1]
-    simp only [length_append_sub, ↓reduceIte]
-     rw [ih v rest h.1]
-    simp only [length_append_sub, ↓reduceIte]
-n    rw [ih v rest h.1]
-    simp only [length_append_sub, ↓reduceIte]
-u    rw [ih v rest h.1]
-    simp only [length_append_sub, ↓reduceIte]
-l    rw [ih v rest h.1]
-    simp only [length_append_sub, ↓reduceIte]
-l    rw [ih v rest h.1]
-    simp only [length_append_sub, ↓reduceIte]
-     rw [ih v rest h.1]
-    simp only [length_append_sub, ↓reduceIte]
-=    rw [ih v rest h.1]
-    simp only [length_append_sub, ↓reduceIte]
->    rw [ih v rest h.1]
-    simp only [length_append_sub, ↓reduceIte]
-
-    rw [ih v rest h.1]
-    simp only [length_append_sub, ↓reduceIte]
-     rw [ih v rest h.1]
-    simp only [length_append_sub, ↓reduceIte]
-     rw [ih v rest h.1]
-    simp only [length_append_sub, ↓reduceIte]
-     rw [ih v rest h.1]
-    simp only [length_append_sub, ↓reduceIte]
-     rw [ih v rest h.1]
-    simp only [length_append_sub, ↓reduceIte]
-     rw [ih v rest h.1]
-    simp only [length_append_sub, ↓reduceIte]
-     rw [ih v rest h.1]
-    simp only [length_append_sub, ↓reduceIte]
-s    rw [ih v rest h.1]
-    simp only [length_append_sub, ↓reduceIte]
-u    rw [ih v rest h.1]
-    simp only [length_append_sub, ↓reduceIte]
-b    rw [ih v rest h.1]
-    simp only [length_append_sub, ↓reduceIte]
-s    rw [ih v rest h.1]
-    simp only [length_append_sub, ↓reduceIte]
-t    rw [ih v rest h.1]
-    simp only [length_append_sub, ↓reduceIte]
-     rw [ih v rest h.1]
-    simp only [length_append_sub, ↓reduceIte]
-h    rw [ih v rest h.1]
-    simp only [length_append_sub, ↓reduceIte]
-
-    rw [ih v rest h.1]
-    simp only [length_append_sub, ↓reduceIte]
-     rw [ih v rest h.1]
-    simp only [length_append_sub, ↓reduceIte]
-     rw [ih v rest h.1]
-    simp only [length_append_sub, ↓reduceIte]
-     rw [ih v rest h.1]
-    simp only [length_append_sub, ↓reduceIte]
-     rw [ih v rest h.1]
-    simp only [length_append_sub, ↓reduceIte]
-     rw [ih v rest h.1]
-    simp only [length_append_sub, ↓reduceIte]
-     rw [ih v rest h.1]
-    simp only [length_append_sub, ↓reduceIte]
-s    rw [ih v rest h.1]
-    simp only [length_append_sub, ↓reduceIte]
-i    rw [ih v rest h.1]
-    simp only [length_append_sub, ↓reduceIte]
-m    rw [ih v rest h.1]
-    simp only [length_append_sub, ↓reduceIte]
-p    rw [ih v rest h.1]
-    simp only [length_append_sub, ↓reduceIte]
-     rw [ih v rest h.1]
-    simp only [length_append_sub, ↓reduceIte]
-o    rw [ih v rest h.1]
-    simp only [length_append_sub, ↓reduceIte]
-n    rw [ih v rest h.1]
-    simp only [length_append_sub, ↓reduceIte]
-l    rw [ih v rest h.1]
-    simp only [length_append_sub, ↓reduceIte]
-y    rw [ih v rest h.1]
-    simp only [length_append_sub, ↓reduceIte]
-     rw [ih v rest h.1]
-    simp only [length_append_sub, ↓reduceIte]
-[    rw [ih v rest h.1]
-    simp only [length_append_sub, ↓reduceIte]
-e    rw [ih v rest h.1]
-    simp only [length_append_sub, ↓reduceIte]
-n    rw [ih v rest h.1]
-    simp only [length_append_sub, ↓reduceIte]
-c    rw [ih v rest h.1]
-    simp only [length_append_sub, ↓reduceIte]
-,    rw [ih v rest h.1]
-    simp only [length_append_sub, ↓reduceIte]
-     rw [ih v rest h.1]
-    simp only [length_append_sub, ↓reduceIte]
-d    rw [ih v rest h.1]
-    simp only [length_append_sub, ↓reduceIte]
-e    rw [ih v rest h.1]
-    simp only [length_append_sub, ↓reduceIte]
-c    rw [ih v rest h.1]
-    simp only [length_append_sub, ↓reduceIte]
-,    rw [ih v rest h.1]
-    simp only [length_append_sub, ↓reduceIte]
-     rw [ih v rest h.1]
-    simp only [length_append_sub, ↓reduceIte]
-g    rw [ih v rest h.1]
-    simp only [length_append_sub, ↓reduceIte]
-e    rw [ih v rest h.1]
-    simp only [length_append_sub, ↓reduceIte]
-t    rw [ih v rest h.1]
-    simp only [length_append_sub, ↓reduceIte]
-C    rw [ih v rest h.1]
-    simp only [length_append_sub, ↓reduceIte]
-o    rw [ih v rest h.1]
-    simp only [length_append_sub, ↓reduceIte]
-u    rw [ih v rest h.1]
-    simp only [length_append_sub, ↓reduceIte]
-n    rw [ih v rest h.1]
-    simp only [length_append_sub, ↓reduceIte]
-t    rw [ih v rest h.1]
-    simp only [length_append_sub, ↓reduceIte]
-_    rw [ih v rest h.1]
-    simp only [length_append_sub, ↓reduceIte]
-p    rw [ih v rest h.1]
-    simp only [length_append_sub, ↓reduceIte]
-u    rw [ih v rest h.1]
-    simp only [length_append_sub, ↓reduceIte]
-t    rw [ih v rest h.1]
-    simp only [length_append_sub, ↓reduceIte]
-C    rw [ih v rest h.1]
-    simp only [length_append_sub, ↓reduceIte]
-o    rw [ih v rest h.1]
-    simp only [length_append_sub, ↓reduceIte]
-u    rw [ih v rest h.1]
-    simp only [length_append_sub, ↓reduceIte]
-n    rw [ih v rest h.1]
-    simp only [length_append_sub, ↓reduceIte]
-t    rw [ih v rest h.1]
-    simp only [length_append_sub, ↓reduceIte]
-_    rw [ih v rest h.1]
-    simp only [length_append_sub, ↓reduceIte]
-n    rw [ih v rest h.1]
-    simp only [length_append_sub, ↓reduceIte]
-u    rw [ih v rest h.1]
-    simp only [length_append_sub, ↓reduceIte]
-l    rw [ih v rest h.1]
-    simp only [length_append_sub, ↓reduceIte]
-l    rw [ih v rest h.1]
-    simp only [length_append_sub, ↓reduceIte]
-]    rw [ih v rest h.1]
-    simp only [length_append_sub, ↓reduceIte]
-
-    rw [ih v rest h.1]
-    simp only [length_append_sub, ↓reduceIte]
-     rw [ih v rest h.1]
-    simp only [length_append_sub, ↓reduceIte]
-     rw [ih v rest h.1]
-    simp only [length_append_sub, ↓reduceIte]
-     rw [ih v rest h.1]
-    simp only [length_append_sub, ↓reduceIte]
-     rw [ih v rest h.1]
-    simp only [length_append_sub, ↓reduceIte]
-c    rw [ih v rest h.1]
-    simp only [length_append_sub, ↓reduceIte]
-a    rw [ih v rest h.1]
-    simp only [length_append_sub, ↓reduceIte]
-s    rw [ih v rest h.1]
-    simp only [length_append_sub, ↓reduceIte]
-e    rw [ih v rest h.1]
-    simp only [length_append_sub, ↓reduceIte]
-     rw [ih v rest h.1]
-    simp only [length_append_sub, ↓reduceIte]
-l    rw [ih v rest h.1]
-    simp only [length_append_sub, ↓reduceIte]
-i    rw [ih v rest h.1]
-    simp only [length_append_sub, ↓reduceIte]
-s    rw [ih v rest h.1]
-    simp only [length_append_sub, ↓reduceIte]
-t    rw [ih v rest h.1]
-    simp only [length_append_sub, ↓reduceIte]
-     rw [ih v rest h.1]
-    simp only [length_append_sub, ↓reduceIte]
-v    rw [ih v rest h.1]
-    simp only [length_append_sub, ↓reduceIte]
-s    rw [ih v rest h.1]
-    simp only [length_append_sub, ↓reduceIte]
-     rw [ih v rest h.1]
-    simp only [length_append_sub, ↓reduceIte]
-=    rw [ih v rest h.1]
-    simp only [length_append_sub, ↓reduceIte]
->    rw [ih v rest h.1]
-    simp only [length_append_sub, ↓reduceIte]
-
-    rw [ih v rest h.1]
-    simp only [length_append_sub, ↓reduceIte]
-     rw [ih v rest h.1]
-    simp only [length_append_sub, ↓reduceIte]
-     rw [ih v rest h.1]
-    simp only [length_append_sub, ↓reduceIte]
-     rw [ih v rest h.1]
-    simp only [length_append_sub, ↓reduceIte]
-     rw [ih v rest h.1]
-    simp only [length_append_sub, ↓reduceIte]
-     rw [ih v rest h.1]
-    simp only [length_append_sub, ↓reduceIte]
-     rw [ih v rest h.1]
-    simp only [length_append_sub, ↓reduceIte]
-h    rw [ih v rest h.1]
-    simp only [length_append_sub, ↓reduceIte]
-a    rw [ih v rest h.1]
-    simp only [length_append_sub, ↓reduceIte]
-v    rw [ih v rest h.1]
-    simp only [length_append_sub, ↓reduceIte]
-e    rw [ih v rest h.1]
-    simp only [length_append_sub, ↓reduceIte]
-     rw [ih v rest h.1]
-    simp only [length_append_sub, ↓reduceIte]
-h    rw [ih v rest h.1]
-    simp only [length_append_sub, ↓reduceIte]
-a    rw [ih v rest h.1]
-    simp only [length_append_sub, ↓reduceIte]
-l    rw [ih v rest h.1]
-    simp only [length_append_sub, ↓reduceIte]
-l    rw [ih v rest h.1]
-    simp only [length_append_sub, ↓reduceIte]
-     rw [ih v rest h.1]
-    simp only [length_append_sub, ↓reduceIte]
-:    rw [ih v rest h.1]
-    simp only [length_append_sub, ↓reduceIte]
-=    rw [ih v rest h.1]
-    simp only [length_append_sub, ↓reduceIte]
-     rw [ih v rest h.1]
-    simp only [length_append_sub, ↓reduceIte]
-a    rw [ih v rest h.1]
-    simp only [length_append_sub, ↓reduceIte]
-l    rw [ih v rest h.1]
-    simp only [length_append_sub, ↓reduceIte]
-l    rw [ih v rest h.1]
-    simp only [length_append_sub, ↓reduceIte]
-W    rw [ih v rest h.1]
-    simp only [length_append_sub, ↓reduceIte]
-T    rw [ih v rest h.1]
-    simp only [length_append_sub, ↓reduceIte]
-_    rw [ih v rest h.1]
-    simp only [length_append_sub, ↓reduceIte]
-s    rw [ih v rest h.1]
-    simp only [length_append_sub, ↓reduceIte]
-p    rw [ih v rest h.1]
-    simp only [length_append_sub, ↓reduceIte]
-e    rw [ih v rest h.1]
-    simp only [length_append_sub, ↓reduceIte]
-c    rw [ih v rest h.1]
-    simp only [length_append_sub, ↓reduceIte]
-     rw [ih v rest h.1]
-    simp only [length_append_sub, ↓reduceIte]
-_    rw [ih v rest h.1]
-    simp only [length_append_sub, ↓reduceIte]
-     rw [ih v rest h.1]
-    simp only [length_append_sub, ↓reduceIte]
-_    rw [ih v rest h.1]
-    simp only [length_append_sub, ↓reduceIte]
-     rw [ih v rest h.1]
-    simp only [length_append_sub, ↓reduceIte]
-h    rw [ih v rest h.1]
-    simp only [length_append_sub, ↓reduceIte]
-.    rw [ih v rest h.1]
-    simp only [length_append_sub, ↓reduceIte]
-1    rw [ih v rest h.1]
-    simp only [length_append_sub, ↓reduceIte]
-
-    rw [ih v rest h.1]
-    simp only [length_append_sub, ↓reduceIte]
-     rw [ih v rest h.1]
-    simp only [length_append_sub, ↓reduceIte]
-     rw [ih v rest h.1]
-    simp only [length_append_sub, ↓reduceIte]
-     rw [ih v rest h.1]
-    simp only [length_append_sub, ↓reduceIte]
-     rw [ih v rest h.1]
-    simp only [length_append_sub, ↓reduceIte]
-     rw [ih v rest h.1]
-    simp only [length_append_sub, ↓reduceIte]
-     rw [ih v rest h.1]
-    simp only [length_append_sub, ↓reduceIte]
-s    rw [ih v rest h.1]
-    simp only [length_append_sub, ↓reduceIte]
-i    rw [ih v rest h.1]
-    simp only [length_append_sub, ↓reduceIte]
-m    rw [ih v rest h.1]
-    simp only [length_append_sub, ↓reduceIte]
-p    rw [ih v rest h.1]
-    simp only [length_append_sub, ↓reduceIte]
-     rw [ih v rest h.1]
-    simp only [length_append_sub, ↓reduceIte]
-o    rw [ih v rest h.1]
-    simp only [length_append_sub, ↓reduceIte]
-n    rw [ih v rest h.1]
-    simp only [length_append_sub, ↓reduceIte]
-l    rw [ih v rest h.1]
-    simp only [length_append_sub, ↓reduceIte]
-y    rw [ih v rest h.1]
-    simp only [length_append_sub, ↓reduceIte]
-     rw [ih v rest h.1]
-    simp only [length_append_sub, ↓reduceIte]
-[    rw [ih v rest h.1]
-    simp only [length_append_sub, ↓reduceIte]
-e    rw [ih v rest h.1]
-    simp only [length_append_sub, ↓reduceIte]
-n    rw [ih v rest h.1]
-    simp only [length_append_sub, ↓reduceIte]
-c    rw [ih v rest h.1]
-    simp only [length_append_sub, ↓reduceIte]
-,    rw [ih v rest h.1]
-    simp only [length_append_sub, ↓reduceIte]
-     rw [ih v rest h.1]
-    simp only [length_append_sub, ↓reduceIte]
-d    rw [ih v rest h.1]
-    simp only [length_append_sub, ↓reduceIte]
-e    rw [ih v rest h.1]
-    simp only [length_append_sub, ↓reduceIte]
-c    rw [ih v rest h.1]
-    simp only [length_append_sub, ↓reduceIte]
-,    rw [ih v rest h.1]
-    simp only [length_append_sub, ↓reduceIte]
-     rw [ih v rest h.1]
-    simp only [length_append_sub, ↓reduceIte]
-L    rw [ih v rest h.1]
-    simp only [length_append_sub, ↓reduceIte]
-i    rw [ih v rest h.1]
-    simp only [length_append_sub, ↓reduceIte]
-s    rw [ih v rest h.1]
-    simp only [length_append_sub, ↓reduceIte]
-t    rw [ih v rest h.1]
-    simp only [length_append_sub, ↓reduceIte]
-.    rw [ih v rest h.1]
-    simp only [length_append_sub, ↓reduceIte]
-a    rw [ih v rest h.1]
-    simp only [length_append_sub, ↓reduceIte]
-p    rw [ih v rest h.1]
-    simp only [length_append_sub, ↓reduceIte]
-p    rw [ih v rest h.1]
-    simp only [length_append_sub, ↓reduceIte]
-e    rw [ih v rest h.1]
-    simp only [length_append_sub, ↓reduceIte]
-n    rw [ih v rest h.1]
-    simp only [length_append_sub, ↓reduceIte]
-d    rw [ih v rest h.1]
-    simp only [length_append_sub, ↓reduceIte]
-_    rw [ih v rest h.1]
-    simp only [length_append_sub, ↓reduceIte]
-a    rw [ih v rest h.1]
-    simp only [length_append_sub, ↓reduceIte]
-s    rw [ih v rest h.1]
-    simp only [length_append_sub, ↓reduceIte]
-s    rw [ih v rest h.1]
-    simp only [length_append_sub, ↓reduceIte]
-o    rw [ih v rest h.1]
-    simp only [length_append_sub, ↓reduceIte]
-c    rw [ih v rest h.1]
-    simp only [length_append_sub, ↓reduceIte]
-]    rw [ih v rest h.1]
-    simp only [length_append_sub, ↓reduceIte]
-
-    rw [ih v rest h.1]
-    simp only [length_append_sub, ↓reduceIte]
-     rw [ih v rest h.1]
-    simp only [length_append_sub, ↓reduceIte]
-     rw [ih v rest h.1]
-    simp only [length_append_sub, ↓reduceIte]
-     rw [ih v rest h.1]
-    simp only [length_append_sub, ↓reduceIte]
-     rw [ih v rest h.1]
-    simp only [length_append_sub, ↓reduceIte]
-     rw [ih v rest h.1]
-    simp only [length_append_sub, ↓reduceIte]
-     rw [ih v rest h.1]
-    simp only [length_append_sub, ↓reduceIte]
-r    rw [ih v rest h.1]
-    simp only [length_append_sub, ↓reduceIte]
-w    rw [ih v rest h.1]
-    simp only [length_append_sub, ↓reduceIte]
-     rw [ih v rest h.1]
-    simp only [length_append_sub, ↓reduceIte]
-[    rw [ih v rest h.1]
-    simp only [length_append_sub, ↓reduceIte]
-g    rw [ih v rest h.1]
-    simp only [length_append_sub, ↓reduceIte]
-e    rw [ih v rest h.1]
-    simp only [length_append_sub, ↓reduceIte]
-t    rw [ih v rest h.1]
-    simp only [length_append_sub, ↓reduceIte]
-C    rw [ih v rest h.1]
-    simp only [length_append_sub, ↓reduceIte]
-o    rw [ih v rest h.1]
-    simp only [length_append_sub, ↓reduceIte]
-u    rw [ih v rest h.1]
-    simp only [length_append_sub, ↓reduceIte]
-n    rw [ih v rest h.1]
-    simp only [length_append_sub, ↓reduceIte]
-t    rw [ih v rest h.1]
-    simp only [length_append_sub, ↓reduceIte]
-_    rw [ih v rest h.1]
-    simp only [length_append_sub, ↓reduceIte]
-p    rw [ih v rest h.1]
-    simp only [length_append_sub, ↓reduceIte]
-u    rw [ih v rest h.1]
-    simp only [length_append_sub, ↓reduceIte]
-t    rw [ih v rest h.1]
-    simp only [length_append_sub, ↓reduceIte]
-C    rw [ih v rest h.1]
-    simp only [length_append_sub, ↓reduceIte]
-o    rw [ih v rest h.1]
-    simp only [length_append_sub, ↓reduceIte]
-u    rw [ih v rest h.1]
-    simp only [length_append_sub, ↓reduceIte]
-n    rw [ih v rest h.1]
-    simp only [length_append_sub, ↓reduceIte]
-t    rw [ih v rest h.1]
-    simp only [length_append_sub, ↓reduceIte]
-_    rw [ih v rest h.1]
-    simp only [length_append_sub, ↓reduceIte]
-s    rw [ih v rest h.1]
-    simp only [length_append_sub, ↓reduceIte]
-o    rw [ih v rest h.1]
-    simp only [length_append_sub, ↓reduceIte]
-m    rw [ih v rest h.1]
-    simp only [length_append_sub, ↓reduceIte]
-e    rw [ih v rest h.1]
-    simp only [length_append_sub, ↓reduceIte]
-     rw [ih v rest h.1]
-    simp only [length_append_sub, ↓reduceIte]
-c    rw [ih v rest h.1]
-    simp only [length_append_sub, ↓reduceIte]
-     rw [ih v rest h.1]
-    simp only [length_append_sub, ↓reduceIte]
-v    rw [ih v rest h.1]
-    simp only [length_append_sub, ↓reduceIte]
-s    rw [ih v rest h.1]
-    simp only [length_append_sub, ↓reduceIte]
-.    rw [ih v rest h.1]
-    simp only [length_append_sub, ↓reduceIte]
-l    rw [ih v rest h.1]
-    simp only [length_append_sub, ↓reduceIte]
-e    rw [ih v rest h.1]
-    simp only [length_append_sub, ↓reduceIte]
-n    rw [ih v rest h.1]
-    simp only [length_append_sub, ↓reduceIte]
-g    rw [ih v rest h.1]
-    simp only [length_append_sub, ↓reduceIte]
-t    rw [ih v rest h.1]
-    simp only [length_append_sub, ↓reduceIte]
-h    rw [ih v rest h.1]
-    simp only [length_append_sub, ↓reduceIte]
-     rw [ih v rest h.1]
-    simp only [length_append_sub, ↓reduceIte]
-_    rw [ih v rest h.1]
-    simp only [length_append_sub, ↓reduceIte]
-     rw [ih v rest h.1]
-    simp only [length_append_sub, ↓reduceIte]
-r    rw [ih v rest h.1]
-    simp only [length_append_sub, ↓reduceIte]
-e    rw [ih v rest h.1]
-    simp only [length_append_sub, ↓reduceIte]
-s    rw [ih v rest h.1]
-    simp only [length_append_sub, ↓reduceIte]
-t    rw [ih v rest h.1]
-    simp only [length_append_sub, ↓reduceIte]
-     rw [ih v rest h.1]
-    simp only [length_append_sub, ↓reduceIte]
-h    rw [ih v rest h.1]
-    simp only [length_append_sub, ↓reduceIte]
-.    rw [ih v rest h.1]
-    simp only [length_append_sub, ↓reduceIte]
-2    rw [ih v rest h.1]
-    simp only [length_append_sub, ↓reduceIte]
-]    rw [ih v rest h.1]
-    simp only [length_append_sub, ↓reduceIte]
-
-    rw [ih v rest h.1]
-    simp only [length_append_sub, ↓reduceIte]
-     rw [ih v rest h.1]
-    simp only [length_append_sub, ↓reduceIte]
-     rw [ih v rest h.1]
-    simp only [length_append_sub, ↓reduceIte]
-     rw [ih v rest h.1]
-    simp only [length_append_sub, ↓reduceIte]
-     rw [ih v rest h.1]
-    simp only [length_append_sub, ↓reduceIte]
-     rw [ih v rest h.1]
-    simp only [length_append_sub, ↓reduceIte]
-     rw [ih v rest h.1]
-    simp only [length_append_sub, ↓reduceIte]
-s    rw [ih v rest h.1]
-    simp only [length_append_sub, ↓reduceIte]
-i    rw [ih v rest h.1]
-    simp only [length_append_sub, ↓reduceIte]
-m    rw [ih v rest h.1]
-    simp only [length_append_sub, ↓reduceIte]
-p    rw [ih v rest h.1]
-    simp only [length_append_sub, ↓reduceIte]
-     rw [ih v rest h.1]
-    simp only [length_append_sub, ↓reduceIte]
-o    rw [ih v rest h.1]
-    simp only [length_append_sub, ↓reduceIte]
-n    rw [ih v rest h.1]
-    simp only [length_append_sub, ↓reduceIte]
-l    rw [ih v rest h.1]
-    simp only [length_append_sub, ↓reduceIte]
-y    rw [ih v rest h.1]
-    simp only [length_append_sub, ↓reduceIte]
-     rw [ih v rest h.1]
-    simp only [length_append_sub, ↓reduceIte]
-[    rw [ih v rest h.1]
-    simp only [length_append_sub, ↓reduceIte]
-]    rw [ih v rest h.1]
-    simp only [length_append_sub, ↓reduceIte]
-
-    rw [ih v rest h.1]
-    simp only [length_append_sub, ↓reduceIte]
-     rw [ih v rest h.1]
-    simp only [length_append_sub, ↓reduceIte]
-     rw [ih v rest h.1]
-    simp only [length_append_sub, ↓reduceIte]
-     rw [ih v rest h.1]
-    simp only [length_append_sub, ↓reduceIte]
-     rw [ih v rest h.1]
-    simp only [length_append_sub, ↓reduceIte]
-     rw [ih v rest h.1]
-    simp only [length_append_sub, ↓reduceIte]
-     rw [ih v rest h.1]
-    simp only [length_append_sub, ↓reduceIte]
-r    rw [ih v rest h.1]
-    simp only [length_append_sub, ↓reduceIte]
-w    rw [ih v rest h.1]
-    simp only [length_append_sub, ↓reduceIte]
-     rw [ih v rest h.1]
-    simp only [length_append_sub, ↓reduceIte]
-[    rw [ih v rest h.1]
-    simp only [length_append_sub, ↓reduceIte]
-d    rw [ih v rest h.1]
-    simp only [length_append_sub, ↓reduceIte]
-e    rw [ih v rest h.1]
-    simp only [length_append_sub, ↓reduceIte]
-c    rw [ih v rest h.1]
-    simp only [length_append_sub, ↓reduceIte]
-M    rw [ih v rest h.1]
-    simp only [length_append_sub, ↓reduceIte]
-a    rw [ih v rest h.1]
-    simp only [length_append_sub, ↓reduceIte]
-n    rw [ih v rest h.1]
-    simp only [length_append_sub, ↓reduceIte]
-y    rw [ih v rest h.1]
-    simp only [length_append_sub, ↓reduceIte]
-_    rw [ih v rest h.1]
-    simp only [length_append_sub, ↓reduceIte]
-f    rw [ih v rest h.1]
-    simp only [length_append_sub, ↓reduceIte]
-l    rw [ih v rest h.1]
-    simp only [length_append_sub, ↓reduceIte]
-a    rw [ih v rest h.1]
-    simp only [length_append_sub, ↓reduceIte]
-t    rw [ih v rest h.1]
-    simp only [length_append_sub, ↓reduceIte]
-t    rw [ih v rest h.1]
-    simp only [length_append_sub, ↓reduceIte]
-e    rw [ih v rest h.1]
-    simp only [length_append_sub, ↓reduceIte]
-n    rw [ih v rest h.1]
-    simp only [length_append_sub, ↓reduceIte]
-     rw [ih v rest h.1]
-    simp only [length_append_sub, ↓reduceIte]
-(    rw [ih v rest h.1]
-    simp only [length_append_sub, ↓reduceIte]
-d    rw [ih v rest h.1]
-    simp only [length_append_sub, ↓reduceIte]
-e    rw [ih v rest h.1]
-    simp only [length_append_sub, ↓reduceIte]
-c    rw [ih v rest h.1]
-    simp only [length_append_sub, ↓reduceIte]
-     rw [ih v rest h.1]
-    simp only [length_append_sub, ↓reduceIte]
-e    rw [ih v rest h.1]
-    simp only [length_append_sub, ↓reduceIte]
-     rw [ih v rest h.1]
-    simp only [length_append_sub, ↓reduceIte]
-v    rw [ih v rest h.1]
-    simp only [length_append_sub, ↓reduceIte]
-e    rw [ih v rest h.1]
-    simp only [length_append_sub, ↓reduceIte]
-r    rw [ih v rest h.1]
-    simp only [length_append_sub, ↓reduceIte]
-)    rw [ih v rest h.1]
-    simp only [length_append_sub, ↓reduceIte]
-     rw [ih v rest h.1]
-    simp only [length_append_sub, ↓reduceIte]
-(    rw [ih v rest h.1]
-    simp only [length_append_sub, ↓reduceIte]
-e    rw [ih v rest h.1]
-    simp only [length_append_sub, ↓reduceIte]
-n    rw [ih v rest h.1]
-    simp only [length_append_sub, ↓reduceIte]
-c    rw [ih v rest h.1]
-    simp only [length_append_sub, ↓reduceIte]
-     rw [ih v rest h.1]
-    simp only [length_append_sub, ↓reduceIte]
-e    rw [ih v rest h.1]
-    simp only [length_append_sub, ↓reduceIte]
-     rw [ih v rest h.1]
-    simp only [length_append_sub, ↓reduceIte]
-v    rw [ih v rest h.1]
-    simp only [length_append_sub, ↓reduceIte]
-e    rw [ih v rest h.1]
-    simp only [length_append_sub, ↓reduceIte]
-r    rw [ih v rest h.1]
-    simp only [length_append_sub, ↓reduceIte]
-)    rw [ih v rest h.1]
-    simp only [length_append_sub, ↓reduceIte]
-     rw [ih v rest h.1]
-    simp only [length_append_sub, ↓reduceIte]
-v    rw [ih v rest h.1]
-    simp only [length_append_sub, ↓reduceIte]
-s    rw [ih v rest h.1]
-    simp only [length_append_sub, ↓reduceIte]
-     rw [ih v rest h.1]
-    simp only [length_append_sub, ↓reduceIte]
-r    rw [ih v rest h.1]
-    simp only [length_append_sub, ↓reduceIte]
-e    rw [ih v rest h.1]
-    simp only [length_append_sub, ↓reduceIte]
-s    rw [ih v rest h.1]
-    simp only [length_append_sub, ↓reduceIte]
-t    rw [ih v rest h.1]
-    simp only [length_append_sub, ↓reduceIte]
-     rw [ih v rest h.1]
-    simp only [length_append_sub, ↓reduceIte]
-(    rw [ih v rest h.1]
-    simp only [length_append_sub, ↓reduceIte]
-f    rw [ih v rest h.1]
-    simp only [length_append_sub, ↓reduceIte]
-u    rw [ih v rest h.1]
-    simp only [length_append_sub, ↓reduceIte]
-n    rw [ih v rest h.1]
-    simp only [length_append_sub, ↓reduceIte]
-     rw [ih v rest h.1]
-    simp only [length_append_sub, ↓reduceIte]
-v    rw [ih v rest h.1]
-    simp only [length_append_sub, ↓reduceIte]
-     rw [ih v rest h.1]
-    simp only [length_append_sub, ↓reduceIte]
-h    rw [ih v rest h.1]
-    simp only [length_append_sub, ↓reduceIte]
-v    rw [ih v rest h.1]
-    simp only [length_append_sub, ↓reduceIte]
-     rw [ih v rest h.1]
-    simp only [length_append_sub, ↓reduceIte]
-r    rw [ih v rest h.1]
-    simp only [length_append_sub, ↓reduceIte]
-     rw [ih v rest h.1]
-    simp only [length_append_sub, ↓reduceIte]
-=    rw [ih v rest h.1]
-    simp only [length_append_sub, ↓reduceIte]
->    rw [ih v rest h.1]
-    simp only [length_append_sub, ↓reduceIte]
-     rw [ih v rest h.1]
-    simp only [length_append_sub, ↓reduceIte]
-i    rw [ih v rest h.1]
-    simp only [length_append_sub, ↓reduceIte]
-h    rw [ih v rest h.1]
-    simp only [length_append_sub, ↓reduceIte]
-     rw [ih v rest h.1]
-    simp only [length_append_sub, ↓reduceIte]
-v    rw [ih v rest h.1]
-    simp only [length_append_sub, ↓reduceIte]
-     rw [ih v rest h.1]
-    simp only [length_append_sub, ↓reduceIte]
-r    rw [ih v rest h.1]
-    simp only [length_append_sub, ↓reduceIte]
-     rw [ih v rest h.1]
-    simp only [length_append_sub, ↓reduceIte]
-(    rw [ih v rest h.1]
-    simp only [length_append_sub, ↓reduceIte]
-h    rw [ih v rest h.1]
-    simp only [length_append_sub, ↓reduceIte]
-a    rw [ih v rest h.1]
-    simp only [length_append_sub, ↓reduceIte]
-l    rw [ih v rest h.1]
-    simp only [length_append_sub, ↓reduceIte]
-l    rw [ih v rest h.1]
-    simp only [length_append_sub, ↓reduceIte]
-     rw [ih v rest h.1]
-    simp only [length_append_sub, ↓reduceIte]
-v    rw [ih v rest h.1]
-    simp only [length_append_sub, ↓reduceIte]
-     rw [ih v rest h.1]
-    simp only [length_append_sub, ↓reduceIte]
-h    rw [ih v rest h.1]
-    simp only [length_append_sub, ↓reduceIte]
-v    rw [ih v rest h.1]
-    simp only [length_append_sub, ↓reduceIte]
-)    rw [ih v rest h.1]
-    simp only [length_append_sub, ↓reduceIte]
-)    rw [ih v rest h.1]
-    simp only [length_append_sub, ↓reduceIte]
-]    rw [ih v rest h.1]
-    simp only [length_append_sub, ↓reduceIte]
-
-    rw [ih v rest h.1]
-    simp only [length_append_sub, ↓reduceIte]
-     rw [ih v rest h.1]
-    simp only [length_append_sub, ↓reduceIte]
-     rw [ih v rest h.1]
-    simp only [length_append_sub, ↓reduceIte]
-|    rw [ih v rest h.1]
-    simp only [length_append_sub, ↓reduceIte]
-     rw [ih v rest h.1]
-    simp only [length_append_sub, ↓reduceIte]
-l    rw [ih v rest h.1]
-    simp only [length_append_sub, ↓reduceIte]
-e    rw [ih v rest h.1]
-    simp only [length_append_sub, ↓reduceIte]
-n    rw [ih v rest h.1]
-    simp only [length_append_sub, ↓reduceIte]
-3    rw [ih v rest h.1]
-    simp only [length_append_sub, ↓reduceIte]
-2    rw [ih v rest h.1]
-    simp only [length_append_sub, ↓reduceIte]
-     rw [ih v rest h.1]
-    simp only [length_append_sub, ↓reduceIte]
-f    rw [ih v rest h.1]
-    simp only [length_append_sub, ↓reduceIte]
-     rw [ih v rest h.1]
-    simp only [length_append_sub, ↓reduceIte]
-i    rw [ih v rest h.1]
-    simp only [length_append_sub, ↓reduceIte]
-h    rw [ih v rest h.1]
-    simp only [length_append_sub, ↓reduceIte]
-     rw [ih v rest h.1]
-    simp only [length_append_sub, ↓reduceIte]
-=    rw [ih v rest h.1]
-    simp only [length_append_sub, ↓reduceIte]
->    rw [ih v rest h.1]
-    simp only [length_append_sub, ↓reduceIte]
-
-    rw [ih v rest h.1]
-    simp only [length_append_sub, ↓reduceIte]
-     rw [ih v rest h.1]
-    simp only [length_append_sub, ↓reduceIte]
-     rw [ih v rest h.1]
-    simp only [length_append_sub, ↓reduceIte]
-     rw [ih v rest h.1]
-    simp only [length_append_sub, ↓reduceIte]
-     rw [ih v rest h.1]
-    simp only [length_append_sub, ↓reduceIte]
-i    rw [ih v rest h.1]
-    simp only [length_append_sub, ↓reduceIte]
-n    rw [ih v rest h.1]
-    simp only [length_append_sub, ↓reduceIte]
-t    rw [ih v rest h.1]
-    simp only [length_append_sub, ↓reduceIte]
-r    rw [ih v rest h.1]
-    simp only [length_append_sub, ↓reduceIte]
-o    rw [ih v rest h.1]
-    simp only [length_append_sub, ↓reduceIte]
-     rw [ih v rest h.1]
-    simp only [length_append_sub, ↓reduceIte]
-v    rw [ih v rest h.1]
-    simp only [length_append_sub, ↓reduceIte]
-     rw [ih v rest h.1]
-    simp only [length_append_sub, ↓reduceIte]
-r    rw [ih v rest h.1]
-    simp only [length_append_sub, ↓reduceIte]
-e    rw [ih v rest h.1]
-    simp only [length_append_sub, ↓reduceIte]
-s    rw [ih v rest h.1]
-    simp only [length_append_sub, ↓reduceIte]
-t    rw [ih v rest h.1]
-    simp only [length_append_sub, ↓reduceIte]
-     rw [ih v rest h.1]
-    simp only [length_append_sub, ↓reduceIte]
-h    rw [ih v rest h.1]
-    simp only [length_append_sub, ↓reduceIte]
-
-    rw [ih v rest h.1]
-    simp only [length_append_sub, ↓reduceIte]
-     rw [ih v rest h.1]
-    simp only [length_append_sub, ↓reduceIte]
-     rw [ih v rest h.1]
-    simp only [length_append_sub, ↓reduceIte]
-     rw [ih v rest h.1]
-    simp only [length_append_sub, ↓reduceIte]
-     rw [ih v rest h.1]
-    simp only [length_append_sub, ↓reduceIte]
-s    rw [ih v rest h.1]
-    simp only [length_append_sub, ↓reduceIte]
-i    rw [ih v rest h.1]
-    simp only [length_append_sub, ↓reduceIte]
-m    rw [ih v rest h.1]
-    simp only [length_append_sub, ↓reduceIte]
-p    rw [ih v rest h.1]
-    simp only [length_append_sub, ↓reduceIte]
-     rw [ih v rest h.1]
-    simp only [length_append_sub, ↓reduceIte]
-o    rw [ih v rest h.1]
-    simp only [length_append_sub, ↓reduceIte]
-n    rw [ih v rest h.1]
-    simp only [length_append_sub, ↓reduceIte]
-l    rw [ih v rest h.1]
-    simp only [length_append_sub, ↓reduceIte]
-y    rw [ih v rest h.1]
-    simp only [length_append_sub, ↓reduceIte]
-     rw [ih v rest h.1]
-    simp only [length_append_sub, ↓reduceIte]
-[    rw [ih v rest h.1]
-    simp only [length_append_sub, ↓reduceIte]
-W    rw [ih v rest h.1]
-    simp only [length_append_sub, ↓reduceIte]
-T    rw [ih v rest h.1]
-    simp only [length_append_sub, ↓reduceIte]
-,    rw [ih v rest h.1]
-    simp only [length_append_sub, ↓reduceIte]
-     rw [ih v rest h.1]
-    simp only [length_append_sub, ↓reduceIte]
-B    rw [ih v rest h.1]
-    simp only [length_append_sub, ↓reduceIte]
-o    rw [ih v rest h.1]
-    simp only [length_append_sub, ↓reduceIte]
-o    rw [ih v rest h.1]
-    simp only [length_append_sub, ↓reduceIte]
-l    rw [ih v rest h.1]
-    simp only [length_append_sub, ↓reduceIte]
-.    rw [ih v rest h.1]
-    simp only [length_append_sub, ↓reduceIte]
-a    rw [ih v rest h.1]
-    simp only [length_append_sub, ↓reduceIte]
-n    rw [ih v rest h.1]
-    simp only [length_append_sub, ↓reduceIte]
-d    rw [ih v rest h.1]
-    simp only [length_append_sub, ↓reduceIte]
-_    rw [ih v rest h.1]
-    simp only [length_append_sub, ↓reduceIte]
-e    rw [ih v rest h.1]
-    simp only [length_append_sub, ↓reduceIte]
-q    rw [ih v rest h.1]
-    simp only [length_append_sub, ↓reduceIte]
-_    rw [ih v rest h.1]
-    simp only [length_append_sub, ↓reduceIte]
-t    rw [ih v rest h.1]
-    simp only [length_append_sub, ↓reduceIte]
-r    rw [ih v rest h.1]
-    simp only [length_append_sub, ↓reduceIte]
-u    rw [ih v rest h.1]
-    simp only [length_append_sub, ↓reduceIte]
-e    rw [ih v rest h.1]
-    simp only [length_append_sub, ↓reduceIte]
-,    rw [ih v rest h.1]
-    simp only [length_append_sub, ↓reduceIte]
-     rw [ih v rest h.1]
-    simp only [length_append_sub, ↓reduceIte]
-d    rw [ih v rest h.1]
-    simp only [length_append_sub, ↓reduceIte]
-e    rw [ih v rest h.1]
-    simp only [length_append_sub, ↓reduceIte]
-c    rw [ih v rest h.1]
-    simp only [length_append_sub, ↓reduceIte]
-i    rw [ih v rest h.1]
-    simp only [length_append_sub, ↓reduceIte]
-d    rw [ih v rest h.1]
-    simp only [length_append_sub, ↓reduceIte]
-e    rw [ih v rest h.1]
-    simp only [length_append_sub, ↓reduceIte]
-_    rw [ih v rest h.1]
-    simp only [length_append_sub, ↓reduceIte]
-e    rw [ih v rest h.1]
-    simp only [length_append_sub, ↓reduceIte]
-q    rw [ih v rest h.1]
-    simp only [length_append_sub, ↓reduceIte]
-_    rw [ih v rest h.1]
-    simp only [length_append_sub, ↓reduceIte]
-t    rw [ih v rest h.1]
-    simp only [length_append_sub, ↓reduceIte]
-r    rw [ih v rest h.1]
-    simp only [length_append_sub, ↓reduceIte]
-u    rw [ih v rest h.1]
-    simp only [length_append_sub, ↓reduceIte]
-e    rw [ih v rest h.1]
-    simp only [length_append_sub, ↓reduceIte]
-_    rw [ih v rest h.1]
-    simp only [length_append_sub, ↓reduceIte]
-e    rw [ih v rest h.1]
-    simp only [length_append_sub, ↓reduceIte]
-q    rw [ih v rest h.1]
-    simp only [length_append_sub, ↓reduceIte]
-]    rw [ih v rest h.1]
-    simp only [length_append_sub, ↓reduceIte]
-     rw [ih v rest h.1]
-    simp only [length_append_sub, ↓reduceIte]
-a    rw [ih v rest h.1]
-    simp only [length_append_sub, ↓reduceIte]
-t    rw [ih v rest h.1]
-    simp only [length_append_sub, ↓reduceIte]
-     rw [ih v rest h.1]
-    simp only [length_append_sub, ↓reduceIte]
-h    rw [ih v rest h.1]
-    simp only [length_append_sub, ↓reduceIte]
-
-    rw [ih v rest h.1]
-    simp only [length_append_sub, ↓reduceIte]
-     rw [ih v rest h.1]
-    simp only [length_append_sub, ↓reduceIte]
-     rw [ih v rest h.1]
-    simp only [length_append_sub, ↓reduceIte]
-     rw [ih v rest h.1]
-    simp only [length_append_sub, ↓reduceIte]
-     rw [ih v rest h.1]
-    simp only [length_append_sub, ↓reduceIte]
-s    rw [ih v rest h.1]
-    simp only [length_append_sub, ↓reduceIte]
-i    rw [ih v rest h.1]
-    simp only [length_append_sub, ↓reduceIte]
-m    rw [ih v rest h.1]
-    simp only [length_append_sub, ↓reduceIte]
-p    rw [ih v rest h.1]
-    simp only [length_append_sub, ↓reduceIte]
-     rw [ih v rest h.1]
-    simp only [length_append_sub, ↓reduceIte]
-o    rw [ih v rest h.1]
-    simp only [length_append_sub, ↓reduceIte]
-n    rw [ih v rest h.1]
-    simp only [length_append_sub, ↓reduceIte]
-l    rw [ih v rest h.1]
-    simp only [length_append_sub, ↓reduceIte]
-y    rw [ih v rest h.1]
-    simp only [length_append_sub, ↓reduceIte]
-     rw [ih v rest h.1]
-    simp only [length_append_sub, ↓reduceIte]
-[    rw [ih v rest h.1]
-    simp only [length_append_sub, ↓reduceIte]
-e    rw [ih v rest h.1]
-    simp only [length_append_sub, ↓reduceIte]
-n    rw [ih v rest h.1]
-    simp only [length_append_sub, ↓reduceIte]
-c    rw [ih v rest h.1]
-    simp only [length_append_sub, ↓reduceIte]
-,    rw [ih v rest h.1]
-    simp only [length_append_sub, ↓reduceIte]
-     rw [ih v rest h.1]
-    simp only [length_append_sub, ↓reduceIte]
-d    rw [ih v rest h.1]
-    simp only [length_append_sub, ↓reduceIte]
-e    rw [ih v rest h.1]
-    simp only [length_append_sub, ↓reduceIte]
-c    rw [ih v rest h.1]
-    simp only [length_append_sub, ↓reduceIte]
-,    rw [ih v rest h.1]
-    simp only [length_append_sub, ↓reduceIte]
-     rw [ih v rest h.1]
-    simp only [length_append_sub, ↓reduceIte]
-p    rw [ih v rest h.1]
-    simp only [length_append_sub, ↓reduceIte]
-u    rw [ih v rest h.1]
-    simp only [length_append_sub, ↓reduceIte]
-t    rw [ih v rest h.1]
-    simp only [length_append_sub, ↓reduceIte]
-L    rw [ih v rest h.1]
-    simp only [length_append_sub, ↓reduceIte]
-e    rw [ih v rest h.1]
-    simp only [length_append_sub, ↓reduceIte]
-n    rw [ih v rest h.1]
-    simp only [length_append_sub, ↓reduceIte]
-3    rw [ih v rest h.1]
-    simp only [length_append_sub, ↓reduceIte]
-2    rw [ih v rest h.1]
-    simp only [length_append_sub, ↓reduceIte]
-,    rw [ih v rest h.1]
-    simp only [length_append_sub, ↓reduceIte]
-     rw [ih v rest h.1]
-    simp only [length_append_sub, ↓reduceIte]
-L    rw [ih v rest h.1]
-    simp only [length_append_sub, ↓reduceIte]
-i    rw [ih v rest h.1]
-    simp only [length_append_sub, ↓reduceIte]
-s    rw [ih v rest h.1]
-    simp only [length_append_sub, ↓reduceIte]
-t    rw [ih v rest h.1]
-    simp only [length_append_sub, ↓reduceIte]
-.    rw [ih v rest h.1]
-    simp only [length_append_sub, ↓reduceIte]
-a    rw [ih v rest h.1]
-    simp only [length_append_sub, ↓reduceIte]
-p    rw [ih v rest h.1]
-    simp only [length_append_sub, ↓reduceIte]
-p    rw [ih v rest h.1]
-    simp only [length_append_sub, ↓reduceIte]
-e    rw [ih v rest h.1]
-    simp only [length_append_sub, ↓reduceIte]
-n    rw [ih v rest h.1]
-    simp only [length_append_sub, ↓reduceIte]
-d    rw [ih v rest h.1]
-    simp only [length_append_sub, ↓reduceIte]
-_    rw [ih v rest h.1]
-    simp only [length_append_sub, ↓reduceIte]
-a    rw [ih v rest h.1]
-    simp only [length_append_sub, ↓reduceIte]
-s    rw [ih v rest h.1]
-    simp only [length_append_sub, ↓reduceIte]
-s    rw [ih v rest h.1]
-    simp only [length_append_sub, ↓reduceIte]
-o    rw [ih v rest h.1]
-    simp only [length_append_sub, ↓reduceIte]
-c    rw [ih v rest h.1]
-    simp only [length_append_sub, ↓reduceIte]
-]    rw [ih v rest h.1]
-    simp only [length_append_sub, ↓reduceIte]
-
-    rw [ih v rest h.1]
-    simp only [length_append_sub, ↓reduceIte]
-     rw [ih v rest h.1]
-    simp only [length_append_sub, ↓reduceIte]
-     rw [ih v rest h.1]
-    simp only [length_append_sub, ↓reduceIte]
-     rw [ih v rest h.1]
-    simp only [length_append_sub, ↓reduceIte]
-     rw [ih v rest h.1]
-    simp only [length_append_sub, ↓reduceIte]
-r    rw [ih v rest h.1]
-    simp only [length_append_sub, ↓reduceIte]
-w    rw [ih v rest h.1]
-    simp only [length_append_sub, ↓reduceIte]
-     rw [ih v rest h.1]
-    simp only [length_append_sub, ↓reduceIte]
-[    rw [ih v rest h.1]
-    simp only [length_append_sub, ↓reduceIte]
-g    rw [ih v rest h.1]
-    simp only [length_append_sub, ↓reduceIte]
-e    rw [ih v rest h.1]
-    simp only [length_append_sub, ↓reduceIte]
-t    rw [ih v rest h.1]
-    simp only [length_append_sub, ↓reduceIte]
-I    rw [ih v rest h.1]
-    simp only [length_append_sub, ↓reduceIte]
-n    rw [ih v rest h.1]
-    simp only [length_append_sub, ↓reduceIte]
-t    rw [ih v rest h.1]
-    simp only [length_append_sub, ↓reduceIte]
-_    rw [ih v rest h.1]
-    simp only [length_append_sub, ↓reduceIte]
-p    rw [ih v rest h.1]
-    simp only [length_append_sub, ↓reduceIte]
-u    rw [ih v rest h.1]
-    simp only [length_append_sub, ↓reduceIte]
-t    rw [ih v rest h.1]
-    simp only [length_append_sub, ↓reduceIte]
-I    rw [ih v rest h.1]
-    simp only [length_append_sub, ↓reduceIte]
-n    rw [ih v rest h.1]
-    simp only [length_append_sub, ↓reduceIte]
-t    rw [ih v rest h.1]
-    simp only [length_append_sub, ↓reduceIte]
-     rw [ih v rest h.1]
-    simp only [length_append_sub, ↓reduceIte]
-4    rw [ih v rest h.1]
-    simp only [length_append_sub, ↓reduceIte]
-     rw [ih v rest h.1]
-    simp only [length_append_sub, ↓reduceIte]
-_    rw [ih v rest h.1]
-    simp only [length_append_sub, ↓reduceIte]
-     rw [ih v rest h.1]
-    simp only [length_append_sub, ↓reduceIte]
-_    rw [ih v rest h.1]
-    simp only [length_append_sub, ↓reduceIte]
-     rw [ih v rest h.1]
-    simp only [length_append_sub, ↓reduceIte]
-(    rw [ih v rest h.1]
-    simp only [length_append_sub, ↓reduceIte]
-b    rw [ih v rest h.1]
-    simp only [length_append_sub, ↓reduceIte]
-y    rw [ih v rest h.1]
-    simp only [length_append_sub, ↓reduceIte]
-     rw [ih v rest h.1]
-    simp only [length_append_sub, ↓reduceIte]
-d    rw [ih v rest h.1]
-    simp only [length_append_sub, ↓reduceIte]
-e    rw [ih v rest h.1]
-    simp only [length_append_sub, ↓reduceIte]
-c    rw [ih v rest h.1]
-    simp only [length_append_sub, ↓reduceIte]
-i    rw [ih v rest h.1]
-    simp only [length_append_sub, ↓reduceIte]
-d    rw [ih v rest h.1]
-    simp only [length_append_sub, ↓reduceIte]
-e    rw [ih v rest h.1]
-    simp only [length_append_sub, ↓reduceIte]
-)    rw [ih v rest h.1]
-    simp only [length_append_sub, ↓reduceIte]
-     rw [ih v rest h.1]
-    simp only [length_append_sub, ↓reduceIte]
-(    rw [ih v rest h.1]
-    simp only [length_append_sub, ↓reduceIte]
-i    rw [ih v rest h.1]
-    simp only [length_append_sub, ↓reduceIte]
-n    rw [ih v rest h.1]
-    simp only [length_append_sub, ↓reduceIte]
-I    rw [ih v rest h.1]
-    simp only [length_append_sub, ↓reduceIte]
-n    rw [ih v rest h.1]
-    simp only [length_append_sub, ↓reduceIte]
-t    rw [ih v rest h.1]
-    simp only [length_append_sub, ↓reduceIte]
-4    rw [ih v rest h.1]
-    simp only [length_append_sub, ↓reduceIte]
-_    rw [ih v rest h.1]
-    simp only [length_append_sub, ↓reduceIte]
-l    rw [ih v rest h.1]
-    simp only [length_append_sub, ↓reduceIte]
-e    rw [ih v rest h.1]
-    simp only [length_append_sub, ↓reduceIte]
-n    rw [ih v rest h.1]
-    simp only [length_append_sub, ↓reduceIte]
-     rw [ih v rest h.1]
-    simp only [length_append_sub, ↓reduceIte]
-_    rw [ih v rest h.1]
-    simp only [length_append_sub, ↓reduceIte]
-     rw [ih v rest h.1]
-    simp only [length_append_sub, ↓reduceIte]
-h    rw [ih v rest h.1]
-    simp only [length_append_sub, ↓reduceIte]
-.    rw [ih v rest h.1]
-    simp only [length_append_sub, ↓reduceIte]
-2    rw [ih v rest h.1]
-    simp only [length_append_sub, ↓reduceIte]
-)    rw [ih v rest h.1]
-    simp only [length_append_sub, ↓reduceIte]
-]    rw [ih v rest h.1]
-    simp only [length_append_sub, ↓reduceIte]
-
-    rw [ih v rest h.1]
-    simp only [length_append_sub, ↓reduceIte]
-     rw [ih v rest h.1]
-    simp only [length_append_sub, ↓reduceIte]
-     rw [ih v rest h.1]
-    simp only [length_append_sub, ↓reduceIte]
-     rw [ih v rest h.1]
-    simp only [length_append_sub, ↓reduceIte]
-     rw [ih v rest h.1]
-    simp only [length_append_sub, ↓reduceIte]
-s    rw [ih v rest h.1]
-    simp only [length_append_sub, ↓reduceIte]
-i    rw [ih v rest h.1]
-    simp only [length_append_sub, ↓reduceIte]
-m    rw [ih v rest h.1]
-    simp only [length_append_sub, ↓reduceIte]
-p    rw [ih v rest h.1]
-    simp only [length_append_sub, ↓reduceIte]
-     rw [ih v rest h.1]
-    simp only [length_append_sub, ↓reduceIte]
-o    rw [ih v rest h.1]
-    simp only [length_append_sub, ↓reduceIte]
-n    rw [ih v rest h.1]
-    simp only [length_append_sub, ↓reduceIte]
-l    rw [ih v rest h.1]
-    simp only [length_append_sub, ↓reduceIte]
-y    rw [ih v rest h.1]
-    simp only [length_append_sub, ↓reduceIte]
-     rw [ih v rest h.1]
-    simp only [length_append_sub, ↓reduceIte]
-[    rw [ih v rest h.1]
-    simp only [length_append_sub, ↓reduceIte]
-L    rw [ih v rest h.1]
-    simp only [length_append_sub, ↓reduceIte]
-i    rw [ih v rest h.1]
-    simp only [length_append_sub, ↓reduceIte]
-s    rw [ih v rest h.1]
-    simp only [length_append_sub, ↓reduceIte]
-t    rw [ih v rest h.1]
-    simp only [length_append_sub, ↓reduceIte]
-.    rw [ih v rest h.1]
-    simp only [length_append_sub, ↓reduceIte]
-l    rw [ih v rest h.1]
-    simp only [length_append_sub, ↓reduceIte]
-e    rw [ih v rest h.1]
-    simp only [length_append_sub, ↓reduceIte]
-n    rw [ih v rest h.1]
-    simp only [length_append_sub, ↓reduceIte]
-g    rw [ih v rest h.1]
-    simp only [length_append_sub, ↓reduceIte]
-t    rw [ih v rest h.1]
-    simp only [length_append_sub, ↓reduceIte]
-h    rw [ih v rest h.1]
-    simp only [length_append_sub, ↓reduceIte]
-_    rw [ih v rest h.1]
-    simp only [length_append_sub, ↓reduceIte]
-a    rw [ih v rest h.1]
-    simp only [length_append_sub, ↓reduceIte]
-p    rw [ih v rest h.1]
-    simp only [length_append_sub, ↓reduceIte]
-p    rw [ih v rest h.1]
-    simp only [length_append_sub, ↓reduceIte]
-e    rw [ih v rest h.1]
-    simp only [length_append_sub, ↓reduceIte]
-n    rw [ih v rest h.1]
-    simp only [length_append_sub, ↓reduceIte]
-d    rw [ih v rest h.1]
-    simp only [length_append_sub, ↓reduceIte]
-,    rw [ih v rest h.1]
-    simp only [length_append_sub, ↓reduceIte]
-     rw [ih v rest h.1]
-    simp only [length_append_sub, ↓reduceIte]
-s    rw [ih v rest h.1]
-    simp only [length_append_sub, ↓reduceIte]
-h    rw [ih v rest h.1]
-    simp only [length_append_sub, ↓reduceIte]
-o    rw [ih v rest h.1]
-    simp only [length_append_sub, ↓reduceIte]
-w    rw [ih v rest h.1]
-    simp only [length_append_sub, ↓reduceIte]
-     rw [ih v rest h.1]
-    simp only [length_append_sub, ↓reduceIte]
-¬    rw [ih v rest h.1]
-    simp only [length_append_sub, ↓reduceIte]
-     rw [ih v rest h.1]
-    simp only [length_append_sub, ↓reduceIte]
-(    rw [ih v rest h.1]
-    simp only [length_append_sub, ↓reduceIte]
-(    rw [ih v rest h.1]
-    simp only [length_append_sub, ↓reduceIte]
-(    rw [ih v rest h.1]
-    simp only [length_append_sub, ↓reduceIte]
-e    rw [ih v rest h.1]
-    simp only [length_append_sub, ↓reduceIte]
-n    rw [ih v rest h.1]
-    simp only [length_append_sub, ↓reduceIte]
-c    rw [ih v rest h.1]
-    simp only [length_append_sub, ↓reduceIte]
-     rw [ih v rest h.1]
-    simp only [length_append_sub, ↓reduceIte]
-f    rw [ih v rest h.1]
-    simp only [length_append_sub, ↓reduceIte]
-     rw [ih v rest h.1]
-    simp only [length_append_sub, ↓reduceIte]
-v    rw [ih v rest h.1]
-    simp only [length_append_sub, ↓reduceIte]
-e    rw [ih v rest h.1]
-    simp only [length_append_sub, ↓reduceIte]
-r    rw [ih v rest h.1]
-    simp only [length_append_sub, ↓reduceIte]
-     rw [ih v rest h.1]
-    simp only [length_append_sub, ↓reduceIte]
-v    rw [ih v rest h.1]
-    simp only [length_append_sub, ↓reduceIte]
-)    rw [ih v rest h.1]
-    simp only [length_append_sub, ↓reduceIte]
-.    rw [ih v rest h.1]
-    simp only [length_append_sub, ↓reduceIte]
-l    rw [ih v rest h.1]
-    simp only [length_append_sub, ↓reduceIte]
-e    rw [ih v rest h.1]
-    simp only [length_append_sub, ↓reduceIte]
-n    rw [ih v rest h.1]
-    simp only [length_append_sub, ↓reduceIte]
-g    rw [ih v rest h.1]
-    simp only [length_append_sub, ↓reduceIte]
-t    rw [ih v rest h.1]
-    simp only [length_append_sub, ↓reduceIte]
-h    rw [ih v rest h.1]
-    simp only [length_append_sub, ↓reduceIte]
-     rw [ih v rest h.1]
-    simp only [length_append_sub, ↓reduceIte]
-:    rw [ih v rest h.1]
-    simp only [length_append_sub, ↓reduceIte]
-     rw [ih v rest h.1]
-    simp only [length_append_sub, ↓reduceIte]
-I    rw [ih v rest h.1]
-    simp only [length_append_sub, ↓reduceIte]
-n    rw [ih v rest h.1]
-    simp only [length_append_sub, ↓reduceIte]
-t    rw [ih v rest h.1]
-    simp only [length_append_sub, ↓reduceIte]
-)    rw [ih v rest h.1]
-    simp only [length_append_sub, ↓reduceIte]
-     rw [ih v rest h.1]
-    simp only [length_append_sub, ↓reduceIte]
->    rw [ih v rest h.1]
-    simp only [length_append_sub, ↓reduceIte]
-     rw [ih v rest h.1]
-    simp only [length_append_sub, ↓reduceIte]
-(    rw [ih v rest h.1]
-    simp only [length_append_sub, ↓reduceIte]
-(    rw [ih v rest h.1]
-    simp only [length_append_sub, ↓reduceIte]
-(    rw [ih v rest h.1]
-    simp only [length_append_sub, ↓reduceIte]
-e    rw [ih v rest h.1]
-    simp only [length_append_sub, ↓reduceIte]
-n    rw [ih v rest h.1]
-    simp only [length_append_sub, ↓reduceIte]
-c    rw [ih v rest h.1]
-    simp only [length_append_sub, ↓reduceIte]
-     rw [ih v rest h.1]
-    simp only [length_append_sub, ↓reduceIte]
-f    rw [ih v rest h.1]
-    simp only [length_append_sub, ↓reduceIte]
-     rw [ih v rest h.1]
-    simp only [length_append_sub, ↓reduceIte]
-v    rw [ih v rest h.1]
-    simp only [length_append_sub, ↓reduceIte]
-e    rw [ih v rest h.1]
-    simp only [length_append_sub, ↓reduceIte]
-r    rw [ih v rest h.1]
-    simp only [length_append_sub, ↓reduceIte]
-     rw [ih v rest h.1]
-    simp only [length_append_sub, ↓reduceIte]
-v    rw [ih v rest h.1]
-    simp only [length_append_sub, ↓reduceIte]
-)    rw [ih v rest h.1]
-    simp only [length_append_sub, ↓reduceIte]
-.    rw [ih v rest h.1]
-    simp only [length_append_sub, ↓reduceIte]
-l    rw [ih v rest h.1]
-    simp only [length_append_sub, ↓reduceIte]
-e    rw [ih v rest h.1]
-    simp only [length_append_sub, ↓reduceIte]
-n    rw [ih v rest h.1]
-    simp only [length_append_sub, ↓reduceIte]
-g    rw [ih v rest h.1]
-    simp only [length_append_sub, ↓reduceIte]
-t    rw [ih v rest h.1]
-    simp only [length_append_sub, ↓reduceIte]
-h    rw [ih v rest h.1]
-    simp only [length_append_sub, ↓reduceIte]
-     rw [ih v rest h.1]
-    simp only [length_append_sub, ↓reduceIte]
-+    rw [ih v rest h.1]
-    simp only [length_append_sub, ↓reduceIte]
-     rw [ih v rest h.1]
-    simp only [length_append_sub, ↓reduceIte]
-r    rw [ih v rest h.1]
-    simp only [length_append_sub, ↓reduceIte]
-e    rw [ih v rest h.1]
-    simp only [length_append_sub, ↓reduceIte]
-s    rw [ih v rest h.1]
-    simp only [length_append_sub, ↓reduceIte]
-t    rw [ih v rest h.1]
-    simp only [length_append_sub, ↓reduceIte]
-.    rw [ih v rest h.1]
-    simp only [length_append_sub, ↓reduceIte]
-l    rw [ih v rest h.1]
-    simp only [length_append_sub, ↓reduceIte]
-e    rw [ih v rest h.1]
-    simp only [length_append_sub, ↓reduceIte]
-n    rw [ih v rest h.1]
-    simp only [length_append_sub, ↓reduceIte]
-g    rw [ih v rest h.1]
-    simp only [length_append_sub, ↓reduceIte]
-t    rw [ih v rest h.1]
-    simp only [length_append_sub, ↓reduceIte]
-h    rw [ih v rest h.1]
-    simp only [length_append_sub, ↓reduceIte]
-     rw [ih v rest h.1]
-    simp only [length_append_sub, ↓reduceIte]
-:    rw [ih v rest h.1]
-    simp only [length_append_sub, ↓reduceIte]
-     rw [ih v rest h.1]
-    simp only [length_append_sub, ↓reduceIte]
-N    rw [ih v rest h.1]
-    simp only [length_append_sub, ↓reduceIte]
-a    rw [ih v rest h.1]
-    simp only [length_append_sub, ↓reduceIte]
-t    rw [ih v rest h.1]
-    simp only [length_append_sub, ↓reduceIte]
-)    rw [ih v rest h.1]
-    simp only [length_append_sub, ↓reduceIte]
-     rw [ih v rest h.1]
-    simp only [length_append_sub, ↓reduceIte]
-:    rw [ih v rest h.1]
-    simp only [length_append_sub, ↓reduceIte]
-     rw [ih v rest h.1]
-    simp only [length_append_sub, ↓reduceIte]
-I    rw [ih v rest h.1]
-    simp only [length_append_sub, ↓reduceIte]
-n    rw [ih v rest h.1]
-    simp only [length_append_sub, ↓reduceIte]
-t    rw [ih v rest h.1]
-    simp only [length_append_sub, ↓reduceIte]
-)    rw [ih v rest h.1]
-    simp only [length_append_sub, ↓reduceIte]
-)    rw [ih v rest h.1]
-    simp only [length_append_sub, ↓reduceIte]
-     rw [ih v rest h.1]
-    simp only [length_append_sub, ↓reduceIte]
-b    rw [ih v rest h.1]
-    simp only [length_append_sub, ↓reduceIte]
-y    rw [ih v rest h.1]
-    simp only [length_append_sub, ↓reduceIte]
-     rw [ih v rest h.1]
-    simp only [length_append_sub, ↓reduceIte]
-o    rw [ih v rest h.1]
-    simp only [length_append_sub, ↓reduceIte]
-m    rw [ih v rest h.1]
-    simp only [length_append_sub, ↓reduceIte]
-e    rw [ih v rest h.1]
-    simp only [length_append_sub, ↓reduceIte]
-g    rw [ih v rest h.1]
-    simp only [length_append_sub, ↓reduceIte]
-a    rw [ih v rest h.1]
-    simp only [length_append_sub, ↓reduceIte]
-,    rw [ih v rest h.1]
-    simp only [length_append_sub, ↓reduceIte]
-
-    rw [ih v rest h.1]
-    simp only [length_append_sub, ↓reduceIte]
-     rw [ih v rest h.1]
-    simp only [length_append_sub, ↓reduceIte]
-     rw [ih v rest h.1]
-    simp only [length_append_sub, ↓reduceIte]
-     rw [ih v rest h.1]
-    simp only [length_append_sub, ↓reduceIte]
-     rw [ih v rest h.1]
-    simp only [length_append_sub, ↓reduceIte]
-     rw [ih v rest h.1]
-    simp only [length_append_sub, ↓reduceIte]
-     rw [ih v rest h.1]
-    simp only [length_append_sub, ↓reduceIte]
-↓    rw [ih v rest h.1]
-    simp only [length_append_sub, ↓reduceIte]
-r    rw [ih v rest h.1]
-    simp only [length_append_sub, ↓reduceIte]
-e    rw [ih v rest h.1]
-    simp only [length_append_sub, ↓reduceIte]
-d    rw [ih v rest h.1]
-    simp only [length_append_sub, ↓reduceIte]
-u    rw [ih v rest h.1]
-    simp only [length_append_sub, ↓reduceIte]
-c    rw [ih v rest h.1]
-    simp only [length_append_sub, ↓reduceIte]
-e    rw [ih v rest h.1]
-    simp only [length_append_sub, ↓reduceIte]
-I    rw [ih v rest h.1]
-    simp only [length_append_sub, ↓reduceIte]
-t    rw [ih v rest h.1]
-    simp only [length_append_sub, ↓reduceIte]
-e    rw [ih v rest h.1]
-    simp only [length_append_sub, ↓reduceIte]
-]    rw [ih v rest h.1]
-    simp only [length_append_sub, ↓reduceIte]
-
-    rw [ih v rest h.1]
-    simp only [length_append_sub, ↓reduceIte]
-     rw [ih v rest h.1]
-    simp only [length_append_sub, ↓reduceIte]
-     rw [ih v rest h.1]
-    simp only [length_append_sub, ↓reduceIte]
-     rw [ih v rest h.1]
-    simp only [length_append_sub, ↓reduceIte]
-     rw [ih v rest h.1]
-    simp only [length_append_sub, ↓reduceIte]
-r    rw [ih v rest h.1]
-    simp only [length_append_sub, ↓reduceIte]
-w    rw [ih v rest h.1]
-    simp only [length_append_sub, ↓reduceIte]
-     rw [ih v rest h.1]
-    simp only [length_append_sub, ↓reduceIte]
-[    rw [ih v rest h.1]
-    simp only [length_append_sub, ↓reduceIte]
-i    rw [ih v rest h.1]
-    simp only [length_append_sub, ↓reduceIte]
-h    rw [ih v rest h.1]
-    simp only [length_append_sub, ↓reduceIte]
-     rw [ih v rest h.1]
-    simp only [length_append_sub, ↓reduceIte]
-v    rw [ih v rest h.1]
-    simp only [length_append_sub, ↓reduceIte]
-     rw [ih v rest h.1]
-    simp only [length_append_sub, ↓reduceIte]
-r    rw [ih v rest h.1]
-    simp only [length_append_sub, ↓reduceIte]
-e    rw [ih v rest h.1]
-    simp only [length_append_sub, ↓reduceIte]
-s    rw [ih v rest h.1]
-    simp only [length_append_sub, ↓reduceIte]
-t    rw [ih v rest h.1]
-    simp only [length_append_sub, ↓reduceIte]
-     rw [ih v rest h.1]
-    simp only [length_append_sub, ↓reduceIte]
-h    rw [ih v rest h.1]
-    simp only [length_append_sub, ↓reduceIte]
-.    rw [ih v rest h.1]
-    simp only [length_append_sub, ↓reduceIte]
-1    rw [ih v rest h.1]
-    simp only [length_append_sub, ↓reduceIte]
-]    rw [ih v rest h.1]
-    simp only [length_append_sub, ↓reduceIte]
-
-    rw [ih v rest h.1]
-    simp only [length_append_sub, ↓reduceIte]
-     rw [ih v rest h.1]
-    simp only [length_append_sub, ↓reduceIte]
-     rw [ih v rest h.1]
-    simp only [length_append_sub, ↓reduceIte]
-     rw [ih v rest h.1]
-    simp only [length_append_sub, ↓reduceIte]
-     rw [ih v rest h.1]
-    simp only [length_append_sub, ↓reduceIte]
-s    rw [ih v rest h.1]
-    simp only [length_append_sub, ↓reduceIte]
-i    rw [ih v rest h.1]
-    simp only [length_append_sub, ↓reduceIte]
-m    rw [ih v rest h.1]
-    simp only [length_append_sub, ↓reduceIte]
-p    rw [ih v rest h.1]
-    simp only [length_append_sub, ↓reduceIte]
-     rw [ih v rest h.1]
-    simp only [length_append_sub, ↓reduceIte]
-o    rw [ih v rest h.1]
-    simp only [length_append_sub, ↓reduceIte]
-n    rw [ih v rest h.1]
-    simp only [length_append_sub, ↓reduceIte]
-l    rw [ih v rest h.1]
-    simp only [length_append_sub, ↓reduceIte]
-y    rw [ih v rest h.1]
-    simp only [length_append_sub, ↓reduceIte]
-     rw [ih v rest h.1]
-    simp only [length_append_sub, ↓reduceIte]
-[    rw [ih v rest h.1]
-    simp only [length_append_sub, ↓reduceIte]
-s    rw [ih v rest h.1]
-    simp only [length_append_sub, ↓reduceIte]
-h    rw [ih v rest h.1]
-    simp only [length_append_sub, ↓reduceIte]
-o    rw [ih v rest h.1]
-    simp only [length_append_sub, ↓reduceIte]
-w    rw [ih v rest h.1]
-    simp only [length_append_sub, ↓reduceIte]
-     rw [ih v rest h.1]
-    simp only [length_append_sub, ↓reduceIte]
-(    rw [ih v rest h.1]
-    simp only [length_append_sub, ↓reduceIte]
-e    rw [ih v rest h.1]
-    simp only [length_append_sub, ↓reduceIte]
-n    rw [ih v rest h.1]
-    simp only [length_append_sub, ↓reduceIte]
-c    rw [ih v rest h.1]
-    simp only [length_append_sub, ↓reduceIte]
-     rw [ih v rest h.1]
-    simp only [length_append_sub, ↓reduceIte]
-f    rw [ih v rest h.1]
-    simp only [length_append_sub, ↓reduceIte]
-     rw [ih v rest h.1]
-    simp only [length_append_sub, ↓reduceIte]
-v    rw [ih v rest h.1]
-    simp only [length_append_sub, ↓reduceIte]
-e    rw [ih v rest h.1]
-    simp only [length_append_sub, ↓reduceIte]
-r    rw [ih v rest h.1]
-    simp only [length_append_sub, ↓reduceIte]
-     rw [ih v rest h.1]
-    simp only [length_append_sub, ↓reduceIte]
-v    rw [ih v rest h.1]
-    simp only [length_append_sub, ↓reduceIte]
-)    rw [ih v rest h.1]
-    simp only [length_append_sub, ↓reduceIte]
-.    rw [ih v rest h.1]
-    simp only [length_append_sub, ↓reduceIte]
-l    rw [ih v rest h.1]
-    simp only [length_append_sub, ↓reduceIte]
-e    rw [ih v rest h.1]
-    simp only [length_append_sub, ↓reduceIte]
-n    rw [ih v rest h.1]
-    simp only [length_append_sub, ↓reduceIte]
-g    rw [ih v rest h.1]
-    simp only [length_append_sub, ↓reduceIte]
-t    rw [ih v rest h.1]
-    simp only [length_append_sub, ↓reduceIte]
-h    rw [ih v rest h.1]
-    simp only [length_append_sub, ↓reduceIte]
-     rw [ih v rest h.1]
-    simp only [length_append_sub, ↓reduceIte]
-+    rw [ih v rest h.1]
-    simp only [length_append_sub, ↓reduceIte]
-     rw [ih v rest h.1]
-    simp only [length_append_sub, ↓reduceIte]
-r    rw [ih v rest h.1]
-    simp only [length_append_sub, ↓reduceIte]
-e    rw [ih v rest h.1]
-    simp only [length_append_sub, ↓reduceIte]
-s    rw [ih v rest h.1]
-    simp only [length_append_sub, ↓reduceIte]
-t    rw [ih v rest h.1]
-    simp only [length_append_sub, ↓reduceIte]
-.    rw [ih v rest h.1]
-    simp only [length_append_sub, ↓reduceIte]
-l    rw [ih v rest h.1]
-    simp only [length_append_sub, ↓reduceIte]
-e    rw [ih v rest h.1]
-    simp only [length_append_sub, ↓reduceIte]
-n    rw [ih v rest h.1]
-    simp only [length_append_sub, ↓reduceIte]
-g    rw [ih v rest h.1]
-    simp only [length_append_sub, ↓reduceIte]
-t    rw [ih v rest h.1]
-    simp only [length_append_sub, ↓reduceIte]
-h    rw [ih v rest h.1]
-    simp only [length_append_sub, ↓reduceIte]
-     rw [ih v rest h.1]
-    simp only [length_append_sub, ↓reduceIte]
--    rw [ih v rest h.1]
-    simp only [length_append_sub, ↓reduceIte]
-     rw [ih v rest h.1]
-    simp only [length_append_sub, ↓reduceIte]
-r    rw [ih v rest h.1]
-    simp only [length_append_sub, ↓reduceIte]
-e    rw [ih v rest h.1]
-    simp only [length_append_sub, ↓reduceIte]
-s    rw [ih v rest h.1]
-    simp only [length_append_sub, ↓reduceIte]
-t    rw [ih v rest h.1]
-    simp only [length_append_sub, ↓reduceIte]
-.    rw [ih v rest h.1]
-    simp only [length_append_sub, ↓reduceIte]
-l    rw [ih v rest h.1]
-    simp only [length_append_sub, ↓reduceIte]
-e    rw [ih v rest h.1]
-    simp only [length_append_sub, ↓reduceIte]
-n    rw [ih v rest h.1]
-    simp only [length_append_sub, ↓reduceIte]
-g    rw [ih v rest h.1]
-    simp only [length_append_sub, ↓reduceIte]
-t    rw [ih v rest h.1]
-    simp only [length_append_sub, ↓reduceIte]
-h    rw [ih v rest h.1]
-    simp only [length_append_sub, ↓reduceIte]
-     rw [ih v rest h.1]
-    simp only [length_append_sub, ↓reduceIte]
-=    rw [ih v rest h.1]
-    simp only [length_append_sub, ↓reduceIte]
-     rw [ih v rest h.1]
-    simp only [length_append_sub, ↓reduceIte]
-(    rw [ih v rest h.1]
-    simp only [length_append_sub, ↓reduceIte]
-e    rw [ih v rest h.1]
-    simp only [length_append_sub, ↓reduceIte]
-n    rw [ih v rest h.1]
-    simp only [length_append_sub, ↓reduceIte]
-c    rw [ih v rest h.1]
-    simp only [length_append_sub, ↓reduceIte]
-     rw [ih v rest h.1]
-    simp only [length_append_sub, ↓reduceIte]
-f    rw [ih v rest h.1]
-    simp only [length_append_sub, ↓reduceIte]
-     rw [ih v rest h.1]
-    simp only [length_append_sub, ↓reduceIte]
-v    rw [ih v rest h.1]
-    simp only [length_append_sub, ↓reduceIte]
-e    rw [ih v rest h.1]
-    simp only [length_append_sub, ↓reduceIte]
-r    rw [ih v rest h.1]
-    simp only [length_append_sub, ↓reduceIte]
-     rw [ih v rest h.1]
-    simp only [length_append_sub, ↓reduceIte]
-v    rw [ih v rest h.1]
-    simp only [length_append_sub, ↓reduceIte]
-)    rw [ih v rest h.1]
-    simp only [length_append_sub, ↓reduceIte]
-.    rw [ih v rest h.1]
-    simp only [length_append_sub, ↓reduceIte]
-l    rw [ih v rest h.1]
-    simp only [length_append_sub, ↓reduceIte]
-e    rw [ih v rest h.1]
-    simp only [length_append_sub, ↓reduceIte]
-n    rw [ih v rest h.1]
-    simp only [length_append_sub, ↓reduceIte]
-g    rw [ih v rest h.1]
-    simp only [length_append_sub, ↓reduceIte]
-t    rw [ih v rest h.1]
-    simp only [length_append_sub, ↓reduceIte]
-h    rw [ih v rest h.1]
-    simp only [length_append_sub, ↓reduceIte]
-     rw [ih v rest h.1]
-    simp only [length_append_sub, ↓reduceIte]
-b    rw [ih v rest h.1]
-    simp only [length_append_sub, ↓reduceIte]
-y    rw [ih v rest h.1]
-    simp only [length_append_sub, ↓reduceIte]
-     rw [ih v rest h.1]
-    simp only [length_append_sub, ↓reduceIte]
-o    rw [ih v rest h.1]
-    simp only [length_append_sub, ↓reduceIte]
-m    rw [ih v rest h.1]
-    simp only [length_append_sub, ↓reduceIte]
-e    rw [ih v rest h.1]
-    simp only [length_append_sub, ↓reduceIte]
-g    rw [ih v rest h.1]
-    simp only [length_append_sub, ↓reduceIte]
-a    rw [ih v rest h.1]
-    simp only [length_append_sub, ↓reduceIte]
-,    rw [ih v rest h.1]
-    simp only [length_append_sub, ↓reduceIte]
-     rw [ih v rest h.1]
-    simp only [length_append_sub, ↓reduceIte]
-↓    rw [ih v rest h.1]
-    simp only [length_append_sub, ↓reduceIte]
-r    rw [ih v rest h.1]
-    simp only [length_append_sub, ↓reduceIte]
-e    rw [ih v rest h.1]
-    simp only [length_append_sub, ↓reduceIte]
-d    rw [ih v rest h.1]
-    simp only [length_append_sub, ↓reduceIte]
-u    rw [ih v rest h.1]
-    simp only [length_append_sub, ↓reduceIte]
-c    rw [ih v rest h.1]
-    simp only [length_append_sub, ↓reduceIte]
-e    rw [ih v rest h.1]
-    simp only [length_append_sub, ↓reduceIte]
-I    rw [ih v rest h.1]
-    simp only [length_append_sub, ↓reduceIte]
-t    rw [ih v rest h.1]
-    simp only [length_append_sub, ↓reduceIte]
-e    rw [ih v rest h.1]
-    simp only [length_append_sub, ↓reduceIte]
-]    rw [ih v rest h.1]
-    simp only [length_append_sub, ↓reduceIte]
-
-    rw [ih v rest h.1]
-    simp only [length_append_sub, ↓reduceIte]
-     rw [ih v rest h.1]
-    simp only [length_append_sub, ↓reduceIte]
-     rw [ih v rest h.1]
-    simp only [length_append_sub, ↓reduceIte]
-|    rw [ih v rest h.1]
-    simp only [length_append_sub, ↓reduceIte]
-     rw [ih v rest h.1]
-    simp only [length_append_sub, ↓reduceIte]
-v    rw [ih v rest h.1]
-    simp only [length_append_sub, ↓reduceIte]
-a    rw [ih v rest h.1]
-    simp only [length_append_sub, ↓reduceIte]
-r    rw [ih v rest h.1]
-    simp only [length_append_sub, ↓reduceIte]
-l    rw [ih v rest h.1]
-    simp only [length_append_sub, ↓reduceIte]
-e    rw [ih v rest h.1]
-    simp only [length_append_sub, ↓reduceIte]
-n    rw [ih v rest h.1]
-    simp only [length_append_sub, ↓reduceIte]
-     rw [ih v rest h.1]
-    simp only [length_append_sub, ↓reduceIte]
-f    rw [ih v rest h.1]
-    simp only [length_append_sub, ↓reduceIte]
-     rw [ih v rest h.1]
-    simp only [length_append_sub, ↓reduceIte]
-i    rw [ih v rest h.1]
-    simp only [length_append_sub, ↓reduceIte]
-h    rw [ih v rest h.1]
-    simp only [length_append_sub, ↓reduceIte]
-     rw [ih v rest h.1]
-    simp only [length_append_sub, ↓reduceIte]
-=    rw [ih v rest h.1]
-    simp only [length_append_sub, ↓reduceIte]
->    rw [ih v rest h.1]
-    simp only [length_append_sub, ↓reduceIte]
-
-    rw [ih v rest h.1]
-    simp only [length_append_sub, ↓reduceIte]
-     rw [ih v rest h.1]
-    simp only [length_append_sub, ↓reduceIte]
-     rw [ih v rest h.1]
-    simp only [length_append_sub, ↓reduceIte]
-     rw [ih v rest h.1]
-    simp only [length_append_sub, ↓reduceIte]
-     rw [ih v rest h.1]
-    simp only [length_append_sub, ↓reduceIte]
-i    rw [ih v rest h.1]
-    simp only [length_append_sub, ↓reduceIte]
-n    rw [ih v rest h.1]
-    simp only [length_append_sub, ↓reduceIte]
-t    rw [ih v rest h.1]
-    simp only [length_append_sub, ↓reduceIte]
-r    rw [ih v rest h.1]
-    simp only [length_append_sub, ↓reduceIte]
-o    rw [ih v rest h.1]
-    simp only [length_append_sub, ↓reduceIte]
-     rw [ih v rest h.1]
-    simp only [length_append_sub, ↓reduceIte]
-v    rw [ih v rest h.1]
-    simp only [length_append_sub, ↓reduceIte]
-     rw [ih v rest h.1]
-    simp only [length_append_sub, ↓reduceIte]
-r    rw [ih v rest h.1]
-    simp only [length_append_sub, ↓reduceIte]
-e    rw [ih v rest h.1]
-    simp only [length_append_sub, ↓reduceIte]
-s    rw [ih v rest h.1]
-    simp only [length_append_sub, ↓reduceIte]
-t    rw [ih v rest h.1]
-    simp only [length_append_sub, ↓reduceIte]
-     rw [ih v rest h.1]
-    simp only [length_append_sub, ↓reduceIte]
-h    rw [ih v rest h.1]
-    simp only [length_append_sub, ↓reduceIte]
-
-    rw [ih v rest h.1]
-    simp only [length_append_sub, ↓reduceIte]
-     rw [ih v rest h.1]
-    simp only [length_append_sub, ↓reduceIte]
-     rw [ih v rest h.1]
-    simp only [length_append_sub, ↓reduceIte]
-     rw [ih v rest h.1]
-    simp only [length_append_sub, ↓reduceIte]
-     rw [ih v rest h.1]
-    simp only [length_append_sub, ↓reduceIte]
-s    rw [ih v rest h.1]
-    simp only [length_append_sub, ↓reduceIte]
-i    rw [ih v rest h.1]
-    simp only [length_append_sub, ↓reduceIte]
-m    rw [ih v rest h.1]
-    simp only [length_append_sub, ↓reduceIte]
-p    rw [ih v rest h.1]
-    simp only [length_append_sub, ↓reduceIte]
-     rw [ih v rest h.1]
-    simp only [length_append_sub, ↓reduceIte]
-o    rw [ih v rest h.1]
-    simp only [length_append_sub, ↓reduceIte]
-n    rw [ih v rest h.1]
-    simp only [length_append_sub, ↓reduceIte]
-l    rw [ih v rest h.1]
-    simp only [length_append_sub, ↓reduceIte]
-y    rw [ih v rest h.1]
-    simp only [length_append_sub, ↓reduceIte]
-     rw [ih v rest h.1]
-    simp only [length_append_sub, ↓reduceIte]
-[    rw [ih v rest h.1]
-    simp only [length_append_sub, ↓reduceIte]
-W    rw [ih v rest h.1]
-    simp only [length_append_sub, ↓reduceIte]
-T    rw [ih v rest h.1]
-    simp only [length_append_sub, ↓reduceIte]
-,    rw [ih v rest h.1]
-    simp only [length_append_sub, ↓reduceIte]
-     rw [ih v rest h.1]
-    simp only [length_append_sub, ↓reduceIte]
-B    rw [ih v rest h.1]
-    simp only [length_append_sub, ↓reduceIte]
-o    rw [ih v rest h.1]
-    simp only [length_append_sub, ↓reduceIte]
-o    rw [ih v rest h.1]
-    simp only [length_append_sub, ↓reduceIte]
-l    rw [ih v rest h.1]
-    simp only [length_append_sub, ↓reduceIte]
-.    rw [ih v rest h.1]
-    simp only [length_append_sub, ↓reduceIte]
-a    rw [ih v rest h.1]
-    simp only [length_append_sub, ↓reduceIte]
-n    rw [ih v rest h.1]
-    simp only [length_append_sub, ↓reduceIte]
-d    rw [ih v rest h.1]
-    simp only [length_append_sub, ↓reduceIte]
-_    rw [ih v rest h.1]
-    simp only [length_append_sub, ↓reduceIte]
-e    rw [ih v rest h.1]
-    simp only [length_append_sub, ↓reduceIte]
-q    rw [ih v rest h.1]
-    simp only [length_append_sub, ↓reduceIte]
-_    rw [ih v rest h.1]
-    simp only [length_append_sub, ↓reduceIte]
-t    rw [ih v rest h.1]
-    simp only [length_append_sub, ↓reduceIte]
-r    rw [ih v rest h.1]
-    simp only [length_append_sub, ↓reduceIte]
-u    rw [ih v rest h.1]
-    simp only [length_append_sub, ↓reduceIte]
-e    rw [ih v rest h.1]
-    simp only [length_append_sub, ↓reduceIte]
-,    rw [ih v rest h.1]
-    simp only [length_append_sub, ↓reduceIte]
-     rw [ih v rest h.1]
-    simp only [length_append_sub, ↓reduceIte]
-d    rw [ih v rest h.1]
-    simp only [length_append_sub, ↓reduceIte]
-e    rw [ih v rest h.1]
-    simp only [length_append_sub, ↓reduceIte]
-c    rw [ih v rest h.1]
-    simp only [length_append_sub, ↓reduceIte]
-i    rw [ih v rest h.1]
-    simp only [length_append_sub, ↓reduceIte]
-d    rw [ih v rest h.1]
-    simp only [length_append_sub, ↓reduceIte]
-e    rw [ih v rest h.1]
-    simp only [length_append_sub, ↓reduceIte]
-_    rw [ih v rest h.1]
-    simp only [length_append_sub, ↓reduceIte]
-e    rw [ih v rest h.1]
-    simp only [length_append_sub, ↓reduceIte]
-q    rw [ih v rest h.1]
-    simp only [length_append_sub, ↓reduceIte]
-_    rw [ih v rest h.1]
-    simp only [length_append_sub, ↓reduceIte]
-t    rw [ih v rest h.1]
-    simp only [length_append_sub, ↓reduceIte]
-r    rw [ih v rest h.1]
-    simp only [length_append_sub, ↓reduceIte]
-u    rw [ih v rest h.1]
-    simp only [length_append_sub, ↓reduceIte]
-e    rw [ih v rest h.1]
-    simp only [length_append_sub, ↓reduceIte]
-_    rw [ih v rest h.1]
-    simp only [length_append_sub, ↓reduceIte]
-e    rw [ih v rest h.1]
-    simp only [length_append_sub, ↓reduceIte]
-q    rw [ih v rest h.1]
-    simp only [length_append_sub, ↓reduceIte]
-]    rw [ih v rest h.1]
-    simp only [length_append_sub, ↓reduceIte]
-     rw [ih v rest h.1]
-    simp only [length_append_sub, ↓reduceIte]
-a    rw [ih v rest h.1]
-    simp only [length_append_sub, ↓reduceIte]
-t    rw [ih v rest h.1]
-    simp only [length_append_sub, ↓reduceIte]
-     rw [ih v rest h.1]
-    simp only [length_append_sub, ↓reduceIte]
-h    rw [ih v rest h.1]
-    simp only [length_append_sub, ↓reduceIte]
-
-    rw [ih v rest h.1]
-    simp only [length_append_sub, ↓reduceIte]
-     rw [ih v rest h.1]
-    simp only [length_append_sub, ↓reduceIte]
-     rw [ih v rest h.1]
-    simp only [length_append_sub, ↓reduceIte]
-     rw [ih v rest h.1]
-    simp only [length_append_sub, ↓reduceIte]
-     rw [ih v rest h.1]
-    simp only [length_append_sub, ↓reduceIte]
-s    rw [ih v rest h.1]
-    simp only [length_append_sub, ↓reduceIte]
-i    rw [ih v rest h.1]
-    simp only [length_append_sub, ↓reduceIte]
-m    rw [ih v rest h.1]
-    simp only [length_append_sub, ↓reduceIte]
-p    rw [ih v rest h.1]
-    simp only [length_append_sub, ↓reduceIte]
-     rw [ih v rest h.1]
-    simp only [length_append_sub, ↓reduceIte]
-o    rw [ih v rest h.1]
-    simp only [length_append_sub, ↓reduceIte]
-n    rw [ih v rest h.1]
-    simp only [length_append_sub, ↓reduceIte]
-l    rw [ih v rest h.1]
-    simp only [length_append_sub, ↓reduceIte]
-y    rw [ih v rest h.1]
-    simp only [length_append_sub, ↓reduceIte]
-     rw [ih v rest h.1]
-    simp only [length_append_sub, ↓reduceIte]
-[    rw [ih v rest h.1]
-    simp only [length_append_sub, ↓reduceIte]
-e    rw [ih v rest h.1]
-    simp only [length_append_sub, ↓reduceIte]
-n    rw [ih v rest h.1]
-    simp only [length_append_sub, ↓reduceIte]
-c    rw [ih v rest h.1]
-    simp only [length_append_sub, ↓reduceIte]
-,    rw [ih v rest h.1]
-    simp only [length_append_sub, ↓reduceIte]
-     rw [ih v rest h.1]
-    simp only [length_append_sub, ↓reduceIte]
-d    rw [ih v rest h.1]
-    simp only [length_append_sub, ↓reduceIte]
-e    rw [ih v rest h.1]
-    simp only [length_append_sub, ↓reduceIte]
-c    rw [ih v rest h.1]
-    simp only [length_append_sub, ↓reduceIte]
-,    rw [ih v rest h.1]
-    simp only [length_append_sub, ↓reduceIte]
-     rw [ih v rest h.1]
-    simp only [length_append_sub, ↓reduceIte]
-p    rw [ih v rest h.1]
-    simp only [length_append_sub, ↓reduceIte]
-u    rw [ih v rest h.1]
-    simp only [length_append_sub, ↓reduceIte]
-t    rw [ih v rest h.1]
-    simp only [length_append_sub, ↓reduceIte]
-V    rw [ih v rest h.1]
-    simp only [length_append_sub, ↓reduceIte]
-a    rw [ih v rest h.1]
-    simp only [length_append_sub, ↓reduceIte]
-r    rw [ih v rest h.1]
-    simp only [length_append_sub, ↓reduceIte]
-L    rw [ih v rest h.1]
-    simp only [length_append_sub, ↓reduceIte]
-e    rw [ih v rest h.1]
-    simp only [length_append_sub, ↓reduceIte]
-n    rw [ih v rest h.1]
-    simp only [length_append_sub, ↓reduceIte]
-,    rw [ih v rest h.1]
-    simp only [length_append_sub, ↓reduceIte]
-     rw [ih v rest h.1]
-    simp only [length_append_sub, ↓reduceIte]
-L    rw [ih v rest h.1]
-    simp only [length_append_sub, ↓reduceIte]
-i    rw [ih v rest h.1]
-    simp only [length_append_sub, ↓reduceIte]
-s    rw [ih v rest h.1]
-    simp only [length_append_sub, ↓reduceIte]
-t    rw [ih v rest h.1]
-    simp only [length_append_sub, ↓reduceIte]
-.    rw [ih v rest h.1]
-    simp only [length_append_sub, ↓reduceIte]
-a    rw [ih v rest h.1]
-    simp only [length_append_sub, ↓reduceIte]
-p    rw [ih v rest h.1]
-    simp only [length_append_sub, ↓reduceIte]
-p    rw [ih v rest h.1]
-    simp only [length_append_sub, ↓reduceIte]
-e    rw [ih v rest h.1]
-    simp only [length_append_sub, ↓reduceIte]
-n    rw [ih v rest h.1]
-    simp only [length_append_sub, ↓reduceIte]
-d    rw [ih v rest h.1]
-    simp only [length_append_sub, ↓reduceIte]
-_    rw [ih v rest h.1]
-    simp only [length_append_sub, ↓reduceIte]
-a    rw [ih v rest h.1]
-    simp only [length_append_sub, ↓reduceIte]
-s    rw [ih v rest h.1]
-    simp only [length_append_sub, ↓reduceIte]
-s    rw [ih v rest h.1]
-    simp only [length_append_sub, ↓reduceIte]
-o    rw [ih v rest h.1]
-    simp only [length_append_sub, ↓reduceIte]
-c    rw [ih v rest h.1]
-    simp only [length_append_sub, ↓reduceIte]
-,    rw [ih v rest h.1]
-    simp only [length_append_sub, ↓reduceIte]
-     rw [ih v rest h.1]
-    simp only [length_append_sub, ↓reduceIte]
-s    rw [ih v rest h.1]
-    simp only [length_append_sub, ↓reduceIte]
-i    rw [ih v rest h.1]
-    simp only [length_append_sub, ↓reduceIte]
-z    rw [ih v rest h.1]
-    simp only [length_append_sub, ↓reduceIte]
-e    rw [ih v rest h.1]
-    simp only [length_append_sub, ↓reduceIte]
-_    rw [ih v rest h.1]
-    simp only [length_append_sub, ↓reduceIte]
-e    rw [ih v rest h.1]
-    simp only [length_append_sub, ↓reduceIte]
-q    rw [ih v rest h.1]
-    simp only [length_append_sub, ↓reduceIte]
-_    rw [ih v rest h.1]
-    simp only [length_append_sub, ↓reduceIte]
-e    rw [ih v rest h.1]
-    simp only [length_append_sub, ↓reduceIte]
-n    rw [ih v rest h.1]
-    simp only [length_append_sub, ↓reduceIte]
-c    rw [ih v rest h.1]
-    simp only [length_append_sub, ↓reduceIte]
-_    rw [ih v rest h.1]
-    simp only [length_append_sub, ↓reduceIte]
-l    rw [ih v rest h.1]
-    simp only [length_append_sub, ↓reduceIte]
-e    rw [ih v rest h.1]
-    simp only [length_append_sub, ↓reduceIte]
-n    rw [ih v rest h.1]
-    simp only [length_append_sub, ↓reduceIte]
-g    rw [ih v rest h.1]
-    simp only [length_append_sub, ↓reduceIte]
-t    rw [ih v rest h.1]
-    simp only [length_append_sub, ↓reduceIte]
-h    rw [ih v rest h.1]
-    simp only [length_append_sub, ↓reduceIte]
-]    rw [ih v rest h.1]
-    simp only [length_append_sub, ↓reduceIte]
-
-    rw [ih v rest h.1]
-    simp only [length_append_sub, ↓reduceIte]
-     rw [ih v rest h.1]
-    simp only [length_append_sub, ↓reduceIte]
-     rw [ih v rest h.1]
-    simp only [length_append_sub, ↓reduceIte]
-     rw [ih v rest h.1]
-    simp only [length_append_sub, ↓reduceIte]
-     rw [ih v rest h.1]
-    simp only [length_append_sub, ↓reduceIte]
-r    rw [ih v rest h.1]
-    simp only [length_append_sub, ↓reduceIte]
-w    rw [ih v rest h.1]
-    simp only [length_append_sub, ↓reduceIte]
-     rw [ih v rest h.1]
-    simp only [length_append_sub, ↓reduceIte]
-[    rw [ih v rest h.1]
-    simp only [length_append_sub, ↓reduceIte]
-g    rw [ih v rest h.1]
-    simp only [length_append_sub, ↓reduceIte]
-e    rw [ih v rest h.1]
-    simp only [length_append_sub, ↓reduceIte]
-t    rw [ih v rest h.1]
-    simp only [length_append_sub, ↓reduceIte]
-V    rw [ih v rest h.1]
-    simp only [length_append_sub, ↓reduceIte]
-a    rw [ih v rest h.1]
-    simp only [length_append_sub, ↓reduceIte]
-r    rw [ih v rest h.1]
-    simp only [length_append_sub, ↓reduceIte]
-i    rw [ih v rest h.1]
-    simp only [length_append_sub, ↓reduceIte]
-n    rw [ih v rest h.1]
-    simp only [length_append_sub, ↓reduceIte]
-t    rw [ih v rest h.1]
-    simp only [length_append_sub, ↓reduceIte]
-_    rw [ih v rest h.1]
-    simp only [length_append_sub, ↓reduceIte]
-p    rw [ih v rest h.1]
-    simp only [length_append_sub, ↓reduceIte]
-u    rw [ih v rest h.1]
-    simp only [length_append_sub, ↓reduceIte]
-t    rw [ih v rest h.1]
-    simp only [length_append_sub, ↓reduceIte]
-V    rw [ih v rest h.1]
-    simp only [length_append_sub, ↓reduceIte]
-a    rw [ih v rest h.1]
-    simp only [length_append_sub, ↓reduceIte]
-r    rw [ih v rest h.1]
-    simp only [length_append_sub, ↓reduceIte]
-i    rw [ih v rest h.1]
-    simp only [length_append_sub, ↓reduceIte]
-n    rw [ih v rest h.1]
-    simp only [length_append_sub, ↓reduceIte]
-t    rw [ih v rest h.1]
-    simp only [length_append_sub, ↓reduceIte]
-     rw [ih v rest h.1]
-    simp only [length_append_sub, ↓reduceIte]
-_    rw [ih v rest h.1]
-    simp only [length_append_sub, ↓reduceIte]
-     rw [ih v rest h.1]
-    simp only [length_append_sub, ↓reduceIte]
-_    rw [ih v rest h.1]
-    simp only [length_append_sub, ↓reduceIte]
-     rw [ih v rest h.1]
-    simp only [length_append_sub, ↓reduceIte]
-(    rw [ih v rest h.1]
-    simp only [length_append_sub, ↓reduceIte]
-i    rw [ih v rest h.1]
-    simp only [length_append_sub, ↓reduceIte]
-n    rw [ih v rest h.1]
-    simp only [length_append_sub, ↓reduceIte]
-I    rw [ih v rest h.1]
-    simp only [length_append_sub, ↓reduceIte]
-n    rw [ih v rest h.1]
-    simp only [length_append_sub, ↓reduceIte]
-t    rw [ih v rest h.1]
-    simp only [length_append_sub, ↓reduceIte]
-8    rw [ih v rest h.1]
-    simp only [length_append_sub, ↓reduceIte]
-_    rw [ih v rest h.1]
-    simp only [length_append_sub, ↓reduceIte]
-l    rw [ih v rest h.1]
-    simp only [length_append_sub, ↓reduceIte]
-e    rw [ih v rest h.1]
-    simp only [length_append_sub, ↓reduceIte]
-n    rw [ih v rest h.1]
-    simp only [length_append_sub, ↓reduceIte]
-     rw [ih v rest h.1]
-    simp only [length_append_sub, ↓reduceIte]
-_    rw [ih v rest h.1]
-    simp only [length_append_sub, ↓reduceIte]
-     rw [ih v rest h.1]
-    simp only [length_append_sub, ↓reduceIte]
-h    rw [ih v rest h.1]
-    simp only [length_append_sub, ↓reduceIte]
-.    rw [ih v rest h.1]
-    simp only [length_append_sub, ↓reduceIte]
-2    rw [ih v rest h.1]
-    simp only [length_append_sub, ↓reduceIte]
-)    rw [ih v rest h.1]
-    simp only [length_append_sub, ↓reduceIte]
-]    rw [ih v rest h.1]
-    simp only [length_append_sub, ↓reduceIte]
-
-    rw [ih v rest h.1]
-    simp only [length_append_sub, ↓reduceIte]
-     rw [ih v rest h.1]
-    simp only [length_append_sub, ↓reduceIte]
-     rw [ih v rest h.1]
-    simp only [length_append_sub, ↓reduceIte]
-     rw [ih v rest h.1]
-    simp only [length_append_sub, ↓reduceIte]
-     rw [ih v rest h.1]
-    simp only [length_append_sub, ↓reduceIte]
-s    rw [ih v rest h.1]
-    simp only [length_append_sub, ↓reduceIte]
-i    rw [ih v rest h.1]
-    simp only [length_append_sub, ↓reduceIte]
-m    rw [ih v rest h.1]
-    simp only [length_append_sub, ↓reduceIte]
-p    rw [ih v rest h.1]
-    simp only [length_append_sub, ↓reduceIte]
-     rw [ih v rest h.1]
-    simp only [length_append_sub, ↓reduceIte]
-o    rw [ih v rest h.1]
-    simp only [length_append_sub, ↓reduceIte]
-n    rw [ih v rest h.1]
-    simp only [length_append_sub, ↓reduceIte]
-l    rw [ih v rest h.1]
-    simp only [length_append_sub, ↓reduceIte]
-y    rw [ih v rest h.1]
-    simp only [length_append_sub, ↓reduceIte]
-     rw [ih v rest h.1]
-    simp only [length_append_sub, ↓reduceIte]
-[    rw [ih v rest h.1]
-    simp only [length_append_sub, ↓reduceIte]
-]    rw [ih v rest h.1]
-    simp only [length_append_sub, ↓reduceIte]
-
-    rw [ih v rest h.1]
-    simp only [length_append_sub, ↓reduceIte]
-     rw [ih v rest h.1]
-    simp only [length_append_sub, ↓reduceIte]
-     rw [ih v rest h.1]
-    simp only [length_append_sub, ↓reduceIte]
-     rw [ih v rest h.1]
-    simp only [length_append_sub, ↓reduceIte]
-     rw [ih v rest h.1]
-    simp only [length_append_sub, ↓reduceIte]
-r    rw [ih v rest h.1]
-    simp only [length_append_sub, ↓reduceIte]
-w    rw [ih v rest h.1]
-    simp only [length_append_sub, ↓reduceIte]
-     rw [ih v rest h.1]
-    simp only [length_append_sub, ↓reduceIte]
-[    rw [ih v rest h.1]
-    simp only [length_append_sub, ↓reduceIte]
-i    rw [ih v rest h.1]
-    simp only [length_append_sub, ↓reduceIte]
-h    rw [ih v rest h.1]
-    simp only [length_append_sub, ↓reduceIte]
-     rw [ih v rest h.1]
-    simp only [length_append_sub, ↓reduceIte]
-v    rw [ih v rest h.1]
-    simp only [length_append_sub, ↓reduceIte]
-     rw [ih v rest h.1]
-    simp only [length_append_sub, ↓reduceIte]
-r    rw [ih v rest h.1]
-    simp only [length_append_sub, ↓reduceIte]
-e    rw [ih v rest h.1]
-    simp only [length_append_sub, ↓reduceIte]
-s    rw [ih v rest h.1]
-    simp only [length_append_sub, ↓reduceIte]
-t    rw [ih v rest h.1]
-    simp only [length_append_sub, ↓reduceIte]
-     rw [ih v rest h.1]
-    simp only [length_append_sub, ↓reduceIte]
-h    rw [ih v rest h.1]
-    simp only [length_append_sub, ↓reduceIte]
-.    rw [ih v rest h.1]
-    simp only [length_append_sub, ↓reduceIte]
-1    rw [ih v rest h.1]
-    simp only [length_append_sub, ↓reduceIte]
-]    rw [ih v rest h.1]
-    simp only [length_append_sub, ↓reduceIte]
-
-    rw [ih v rest h.1]
-    simp only [length_append_sub, ↓reduceIte]
-     rw [ih v rest h.1]
-    simp only [length_append_sub, ↓reduceIte]
-     rw [ih v rest h.1]
-    simp only [length_append_sub, ↓reduceIte]
-     rw [ih v rest h.1]
-    simp only [length_append_sub, ↓reduceIte]
-     rw [ih v rest h.1]
-    simp only [length_append_sub, ↓reduceIte]
-h    rw [ih v rest h.1]
-    simp only [length_append_sub, ↓reduceIte]
-a    rw [ih v rest h.1]
-    simp only [length_append_sub, ↓reduceIte]
-v    rw [ih v rest h.1]
-    simp only [length_append_sub, ↓reduceIte]
-e    rw [ih v rest h.1]
-    simp only [length_append_sub, ↓reduceIte]
-     rw [ih v rest h.1]
-    simp only [length_append_sub, ↓reduceIte]
-:    rw [ih v rest h.1]
-    simp only [length_append_sub, ↓reduceIte]
-     rw [ih v rest h.1]
-    simp only [length_append_sub, ↓reduceIte]
-(    rw [ih v rest h.1]
-    simp only [length_append_sub, ↓reduceIte]
-(    rw [ih v rest h.1]
-    simp only [length_append_sub, ↓reduceIte]
-(    rw [ih v rest h.1]
-    simp only [length_append_sub, ↓reduceIte]
-p    rw [ih v rest h.1]
-    simp only [length_append_sub, ↓reduceIte]
-u    rw [ih v rest h.1]
-    simp only [length_append_sub, ↓reduceIte]
-t    rw [ih v rest h.1]
-    simp only [length_append_sub, ↓reduceIte]
-V    rw [ih v rest h.1]
-    simp only [length_append_sub, ↓reduceIte]
-a    rw [ih v rest h.1]
-    simp only [length_append_sub, ↓reduceIte]
-r    rw [ih v rest h.1]
-    simp only [length_append_sub, ↓reduceIte]
-i    rw [ih v rest h.1]
-    simp only [length_append_sub, ↓reduceIte]
-n    rw [ih v rest h.1]
-    simp only [length_append_sub, ↓reduceIte]
-t    rw [ih v rest h.1]
-    simp only [length_append_sub, ↓reduceIte]
-     rw [ih v rest h.1]
-    simp only [length_append_sub, ↓reduceIte]
-(    rw [ih v rest h.1]
-    simp only [length_append_sub, ↓reduceIte]
-(    rw [ih v rest h.1]
-    simp only [length_append_sub, ↓reduceIte]
-e    rw [ih v rest h.1]
-    simp only [length_append_sub, ↓reduceIte]
-n    rw [ih v rest h.1]
-    simp only [length_append_sub, ↓reduceIte]
-c    rw [ih v rest h.1]
-    simp only [length_append_sub, ↓reduceIte]
-     rw [ih v rest h.1]
-    simp only [length_append_sub, ↓reduceIte]
-f    rw [ih v rest h.1]
-    simp only [length_append_sub, ↓reduceIte]
-     rw [ih v rest h.1]
-    simp only [length_append_sub, ↓reduceIte]
-v    rw [ih v rest h.1]
-    simp only [length_append_sub, ↓reduceIte]
-e    rw [ih v rest h.1]
-    simp only [length_append_sub, ↓reduceIte]
-r    rw [ih v rest h.1]
-    simp only [length_append_sub, ↓reduceIte]
-     rw [ih v rest h.1]
-    simp only [length_append_sub, ↓reduceIte]
-v    rw [ih v rest h.1]
-    simp only [length_append_sub, ↓reduceIte]
-)    rw [ih v rest h.1]
-    simp only [length_append_sub, ↓reduceIte]
-.    rw [ih v rest h.1]
-    simp only [length_append_sub, ↓reduceIte]
-l    rw [ih v rest h.1]
-    simp only [length_append_sub, ↓reduceIte]
-e    rw [ih v rest h.1]
-    simp only [length_append_sub, ↓reduceIte]
-n    rw [ih v rest h.1]
-    simp only [length_append_sub, ↓reduceIte]
-g    rw [ih v rest h.1]
-    simp only [length_append_sub, ↓reduceIte]
-t    rw [ih v rest h.1]
-    simp only [length_append_sub, ↓reduceIte]
-h    rw [ih v rest h.1]
-    simp only [length_append_sub, ↓reduceIte]
-     rw [ih v rest h.1]
-    simp only [length_append_sub, ↓reduceIte]
-:    rw [ih v rest h.1]
-    simp only [length_append_sub, ↓reduceIte]
-     rw [ih v rest h.1]
-    simp only [length_append_sub, ↓reduceIte]
-I    rw [ih v rest h.1]
-    simp only [length_append_sub, ↓reduceIte]
-n    rw [ih v rest h.1]
-    simp only [length_append_sub, ↓reduceIte]
-t    rw [ih v rest h.1]
-    simp only [length_append_sub, ↓reduceIte]
-)    rw [ih v rest h.1]
-    simp only [length_append_sub, ↓reduceIte]
-     rw [ih v rest h.1]
-    simp only [length_append_sub, ↓reduceIte]
-+    rw [ih v rest h.1]
-    simp only [length_append_sub, ↓reduceIte]
-+    rw [ih v rest h.1]
-    simp only [length_append_sub, ↓reduceIte]
-     rw [ih v rest h.1]
-    simp only [length_append_sub, ↓reduceIte]
-(    rw [ih v rest h.1]
-    simp only [length_append_sub, ↓reduceIte]
-e    rw [ih v rest h.1]
-    simp only [length_append_sub, ↓reduceIte]
-n    rw [ih v rest h.1]
-    simp only [length_append_sub, ↓reduceIte]
-c    rw [ih v rest h.1]
-    simp only [length_append_sub, ↓reduceIte]
-     rw [ih v rest h.1]
-    simp only [length_append_sub, ↓reduceIte]
-f    rw [ih v rest h.1]
-    simp only [length_append_sub, ↓reduceIte]
-     rw [ih v rest h.1]
-    simp only [length_append_sub, ↓reduceIte]
-v    rw [ih v rest h.1]
-    simp only [length_append_sub, ↓reduceIte]
-e    rw [ih v rest h.1]
-    simp only [length_append_sub, ↓reduceIte]
-r    rw [ih v rest h.1]
-    simp only [length_append_sub, ↓reduceIte]
-     rw [ih v rest h.1]
-    simp only [length_append_sub, ↓reduceIte]
-v    rw [ih v rest h.1]
-    simp only [length_append_sub, ↓reduceIte]
-     rw [ih v rest h.1]
-    simp only [length_append_sub, ↓reduceIte]
-+    rw [ih v rest h.1]
-    simp only [length_append_sub, ↓reduceIte]
-+    rw [ih v rest h.1]
-    simp only [length_append_sub, ↓reduceIte]
-     rw [ih v rest h.1]
-    simp only [length_append_sub, ↓reduceIte]
-r    rw [ih v rest h.1]
-    simp only [length_append_sub, ↓reduceIte]
-e    rw [ih v rest h.1]
-    simp only [length_append_sub, ↓reduceIte]
-s    rw [ih v rest h.1]
-    simp only [length_append_sub, ↓reduceIte]
-t    rw [ih v rest h.1]
-    simp only [length_append_sub, ↓reduceIte]
-)    rw [ih v rest h.1]
-    simp only [length_append_sub, ↓reduceIte]
-)    rw [ih v rest h.1]
-    simp only [length_append_sub, ↓reduceIte]
-.    rw [ih v rest h.1]
-    simp only [length_append_sub, ↓reduceIte]
-l    rw [ih v rest h.1]
-    simp only [length_append_sub, ↓reduceIte]
-e    rw [ih v rest h.1]
-    simp only [length_append_sub, ↓reduceIte]
-n    rw [ih v rest h.1]
-    simp only [length_append_sub, ↓reduceIte]
-g    rw [ih v rest h.1]
-    simp only [length_append_sub, ↓reduceIte]
-t    rw [ih v rest h.1]
-    simp only [length_append_sub, ↓reduceIte]
-h    rw [ih v rest h.1]
-    simp only [length_append_sub, ↓reduceIte]
-     rw [ih v rest h.1]
-    simp only [length_append_sub, ↓reduceIte]
--    rw [ih v rest h.1]
-    simp only [length_append_sub, ↓reduceIte]
-     rw [ih v rest h.1]
-    simp only [length_append_sub, ↓reduceIte]
-r    rw [ih v rest h.1]
-    simp only [length_append_sub, ↓reduceIte]
-e    rw [ih v rest h.1]
-    simp only [length_append_sub, ↓reduceIte]
-s    rw [ih v rest h.1]
-    simp only [length_append_sub, ↓reduceIte]
-t    rw [ih v rest h.1]
-    simp only [length_append_sub, ↓reduceIte]
-.    rw [ih v rest h.1]
-    simp only [length_append_sub, ↓reduceIte]
-l    rw [ih v rest h.1]
-    simp only [length_append_sub, ↓reduceIte]
-e    rw [ih v rest h.1]
-    simp only [length_append_sub, ↓reduceIte]
-n    rw [ih v rest h.1]
-    simp only [length_append_sub, ↓reduceIte]
-g    rw [ih v rest h.1]
-    simp only [length_append_sub, ↓reduceIte]
-t    rw [ih v rest h.1]
-    simp only [length_append_sub, ↓reduceIte]
-h    rw [ih v rest h.1]
-    simp only [length_append_sub, ↓reduceIte]
-     rw [ih v rest h.1]
-    simp only [length_append_sub, ↓reduceIte]
-:    rw [ih v rest h.1]
-    simp only [length_append_sub, ↓reduceIte]
-     rw [ih v rest h.1]
-    simp only [length_append_sub, ↓reduceIte]
-N    rw [ih v rest h.1]
-    simp only [length_append_sub, ↓reduceIte]
-a    rw [ih v rest h.1]
-    simp only [length_append_sub, ↓reduceIte]
-t    rw [ih v rest h.1]
-    simp only [length_append_sub, ↓reduceIte]
-)    rw [ih v rest h.1]
-    simp only [length_append_sub, ↓reduceIte]
-     rw [ih v rest h.1]
-    simp only [length_append_sub, ↓reduceIte]
-:    rw [ih v rest h.1]
-    simp only [length_append_sub, ↓reduceIte]
-     rw [ih v rest h.1]
-    simp only [length_append_sub, ↓reduceIte]
-I    rw [ih v rest h.1]
-    simp only [length_append_sub, ↓reduceIte]
-n    rw [ih v rest h.1]
-    simp only [length_append_sub, ↓reduceIte]
-t    rw [ih v rest h.1]
-    simp only [length_append_sub, ↓reduceIte]
-)    rw [ih v rest h.1]
-    simp only [length_append_sub, ↓reduceIte]
-
-    rw [ih v rest h.1]
-    simp only [length_append_sub, ↓reduceIte]
-     rw [ih v rest h.1]
-    simp only [length_append_sub, ↓reduceIte]
-     rw [ih v rest h.1]
-    simp only [length_append_sub, ↓reduceIte]
-     rw [ih v rest h.1]
-    simp only [length_append_sub, ↓reduceIte]
-     rw [ih v rest h.1]
-    simp only [length_append_sub, ↓reduceIte]
-     rw [ih v rest h.1]
-    simp only [length_append_sub, ↓reduceIte]
-     rw [ih v rest h.1]
-    simp only [length_append_sub, ↓reduceIte]
-     rw [ih v rest h.1]
-    simp only [length_append_sub, ↓reduceIte]
-     rw [ih v rest h.1]
-    simp only [length_append_sub, ↓reduceIte]
--    rw [ih v rest h.1]
-    simp only [length_append_sub, ↓reduceIte]
-     rw [ih v rest h.1]
-    simp only [length_append_sub, ↓reduceIte]
-(    rw [ih v rest h.1]
-    simp only [length_append_sub, ↓reduceIte]
-(    rw [ih v rest h.1]
-    simp only [length_append_sub, ↓reduceIte]
-p    rw [ih v rest h.1]
-    simp only [length_append_sub, ↓reduceIte]
-r    rw [ih v rest h.1]
-    simp only [length_append_sub, ↓reduceIte]
-e    rw [ih v rest h.1]
-    simp only [length_append_sub, ↓reduceIte]
-p    rw [ih v rest h.1]
-    simp only [length_append_sub, ↓reduceIte]
-V    rw [ih v rest h.1]
-    simp only [length_append_sub, ↓reduceIte]
-a    rw [ih v rest h.1]
-    simp only [length_append_sub, ↓reduceIte]
-r    rw [ih v rest h.1]
-    simp only [length_append_sub, ↓reduceIte]
-i    rw [ih v rest h.1]
-    simp only [length_append_sub, ↓reduceIte]
-n    rw [ih v rest h.1]
-    simp only [length_append_sub, ↓reduceIte]
-t    rw [ih v rest h.1]
-    simp only [length_append_sub, ↓reduceIte]
-     rw [ih v rest h.1]
-    simp only [length_append_sub, ↓reduceIte]
-(    rw [ih v rest h.1]
-    simp only [length_append_sub, ↓reduceIte]
-(    rw [ih v rest h.1]
-    simp only [length_append_sub, ↓reduceIte]
-e    rw [ih v rest h.1]
-    simp only [length_append_sub, ↓reduceIte]
-n    rw [ih v rest h.1]
-    simp only [length_append_sub, ↓reduceIte]
-c    rw [ih v rest h.1]
-    simp only [length_append_sub, ↓reduceIte]
-     rw [ih v rest h.1]
-    simp only [length_append_sub, ↓reduceIte]
-f    rw [ih v rest h.1]
-    simp only [length_append_sub, ↓reduceIte]
-     rw [ih v rest h.1]
-    simp only [length_append_sub, ↓reduceIte]
-v    rw [ih v rest h.1]
-    simp only [length_append_sub, ↓reduceIte]
-e    rw [ih v rest h.1]
-    simp only [length_append_sub, ↓reduceIte]
-r    rw [ih v rest h.1]
-    simp only [length_append_sub, ↓reduceIte]
-     rw [ih v rest h.1]
-    simp only [length_append_sub, ↓reduceIte]
-v    rw [ih v rest h.1]
-    simp only [length_append_sub, ↓reduceIte]
-)    rw [ih v rest h.1]
-    simp only [length_append_sub, ↓reduceIte]
-.    rw [ih v rest h.1]
-    simp only [length_append_sub, ↓reduceIte]
-l    rw [ih v rest h.1]
-    simp only [length_append_sub, ↓reduceIte]
-e    rw [ih v rest h.1]
-    simp only [length_append_sub, ↓reduceIte]
-n    rw [ih v rest h.1]
-    simp only [length_append_sub, ↓reduceIte]
-g    rw [ih v rest h.1]
-    simp only [length_append_sub, ↓reduceIte]
-t    rw [ih v rest h.1]
-    simp only [length_append_sub, ↓reduceIte]
-h    rw [ih v rest h.1]
-    simp only [length_append_sub, ↓reduceIte]
-     rw [ih v rest h.1]
-    simp only [length_append_sub, ↓reduceIte]
-:    rw [ih v rest h.1]
-    simp only [length_append_sub, ↓reduceIte]
-     rw [ih v rest h.1]
-    simp only [length_append_sub, ↓reduceIte]
-I    rw [ih v rest h.1]
-    simp only [length_append_sub, ↓reduceIte]
-n    rw [ih v rest h.1]
-    simp only [length_append_sub, ↓reduceIte]
-t    rw [ih v rest h.1]
-    simp only [length_append_sub, ↓reduceIte]
-)    rw [ih v rest h.1]
-    simp only [length_append_sub, ↓reduceIte]
-     rw [ih v rest h.1]
-    simp only [length_append_sub, ↓reduceIte]
-:    rw [ih v rest h.1]
-    simp only [length_append_sub, ↓reduceIte]
-     rw [ih v rest h.1]
-    simp only [length_append_sub, ↓reduceIte]
-N    rw [ih v rest h.1]
-    simp only [length_append_sub, ↓reduceIte]
-a    rw [ih v rest h.1]
-    simp only [length_append_sub, ↓reduceIte]
-t    rw [ih v rest h.1]
-    simp only [length_append_sub, ↓reduceIte]
-)    rw [ih v rest h.1]
-    simp only [length_append_sub, ↓reduceIte]
-     rw [ih v rest h.1]
-    simp only [length_append_sub, ↓reduceIte]
-:    rw [ih v rest h.1]
-    simp only [length_append_sub, ↓reduceIte]
-     rw [ih v rest h.1]
-    simp only [length_append_sub, ↓reduceIte]
-I    rw [ih v rest h.1]
-    simp only [length_append_sub, ↓reduceIte]
-n    rw [ih v rest h.1]
-    simp only [length_append_sub, ↓reduceIte]
-t    rw [ih v rest h.1]
-    simp only [length_append_sub, ↓reduceIte]
-)    rw [ih v rest h.1]
-    simp only [length_append_sub, ↓reduceIte]
-     rw [ih v rest h.1]
-    simp only [length_append_sub, ↓reduceIte]
-=    rw [ih v rest h.1]
-    simp only [length_append_sub, ↓reduceIte]
-     rw [ih v rest h.1]
-    simp only [length_append_sub, ↓reduceIte]
-(    rw [ih v rest h.1]
-    simp only [length_append_sub, ↓reduceIte]
-(    rw [ih v rest h.1]
-    simp only [length_append_sub, ↓reduceIte]
-e    rw [ih v rest h.1]
-    simp only [length_append_sub, ↓reduceIte]
-n    rw [ih v rest h.1]
-    simp only [length_append_sub, ↓reduceIte]
-c    rw [ih v rest h.1]
-    simp only [length_append_sub, ↓reduceIte]
-     rw [ih v rest h.1]
-    simp only [length_append_sub, ↓reduceIte]
-f    rw [ih v rest h.1]
-    simp only [length_append_sub, ↓reduceIte]
-     rw [ih v rest h.1]
-    simp only [length_append_sub, ↓reduceIte]
-v    rw [ih v rest h.1]
-    simp only [length_append_sub, ↓reduceIte]
-e    rw [ih v rest h.1]
-    simp only [length_append_sub, ↓reduceIte]
-r    rw [ih v rest h.1]
-    simp only [length_append_sub, ↓reduceIte]
-     rw [ih v rest h.1]
-    simp only [length_append_sub, ↓reduceIte]
-v    rw [ih v rest h.1]
-    simp only [length_append_sub, ↓reduceIte]
-)    rw [ih v rest h.1]
-    simp only [length_append_sub, ↓reduceIte]
-.    rw [ih v rest h.1]
-    simp only [length_append_sub, ↓reduceIte]
-l    rw [ih v rest h.1]
-    simp only [length_append_sub, ↓reduceIte]
-e    rw [ih v rest h.1]
-    simp only [length_append_sub, ↓reduceIte]
-n    rw [ih v rest h.1]
-    simp only [length_append_sub, ↓reduceIte]
-g    rw [ih v rest h.1]
-    simp only [length_append_sub, ↓reduceIte]
-t    rw [ih v rest h.1]
-    simp only [length_append_sub, ↓reduceIte]
-h    rw [ih v rest h.1]
-    simp only [length_append_sub, ↓reduceIte]
-     rw [ih v rest h.1]
-    simp only [length_append_sub, ↓reduceIte]
-:    rw [ih v rest h.1]
-    simp only [length_append_sub, ↓reduceIte]
-     rw [ih v rest h.1]
-    simp only [length_append_sub, ↓reduceIte]
-I    rw [ih v rest h.1]
-    simp only [length_append_sub, ↓reduceIte]
-n    rw [ih v rest h.1]
-    simp only [length_append_sub, ↓reduceIte]
-t    rw [ih v rest h.1]
-    simp only [length_append_sub, ↓reduceIte]
-)    rw [ih v rest h.1]
-    simp only [length_append_sub, ↓reduceIte]
-     rw [ih v rest h.1]
-    simp only [length_append_sub, ↓reduceIte]
-:    rw [ih v rest h.1]
-    simp only [length_append_sub, ↓reduceIte]
-=    rw [ih v rest h.1]
-    simp only [length_append_sub, ↓reduceIte]
-     rw [ih v rest h.1]
-    simp only [length_append_sub, ↓reduceIte]
-b    rw [ih v rest h.1]
-    simp only [length_append_sub, ↓reduceIte]
-y    rw [ih v rest h.1]
-    simp only [length_append_sub, ↓reduceIte]
-
-    rw [ih v rest h.1]
-    simp only [length_append_sub, ↓reduceIte]
-     rw [ih v rest h.1]
-    simp only [length_append_sub, ↓reduceIte]
-     rw [ih v rest h.1]
-    simp only [length_append_sub, ↓reduceIte]
-     rw [ih v rest h.1]
-    simp only [length_append_sub, ↓reduceIte]
-     rw [ih v rest h.1]
-    simp only [length_append_sub, ↓reduceIte]
-     rw [ih v rest h.1]
-    simp only [length_append_sub, ↓reduceIte]
-     rw [ih v rest h.1]
-    simp only [length_append_sub, ↓reduceIte]
-s    rw [ih v rest h.1]
-    simp only [length_append_sub, ↓reduceIte]
-i    rw [ih v rest h.1]
-    simp only [length_append_sub, ↓reduceIte]
-m    rw [ih v rest h.1]
-    simp only [length_append_sub, ↓reduceIte]
-p    rw [ih v rest h.1]
-    simp only [length_append_sub, ↓reduceIte]
-     rw [ih v rest h.1]
-    simp only [length_append_sub, ↓reduceIte]
-o    rw [ih v rest h.1]
-    simp only [length_append_sub, ↓reduceIte]
-n    rw [ih v rest h.1]
-    simp only [length_append_sub, ↓reduceIte]
-l    rw [ih v rest h.1]
-    simp only [length_append_sub, ↓reduceIte]
-y    rw [ih v rest h.1]
-    simp only [length_append_sub, ↓reduceIte]
-     rw [ih v rest h.1]
-    simp only [length_append_sub, ↓reduceIte]
-[    rw [ih v rest h.1]
-    simp only [length_append_sub, ↓reduceIte]
-L    rw [ih v rest h.1]
-    simp only [length_append_sub, ↓reduceIte]
-i    rw [ih v rest h.1]
-    simp only [length_append_sub, ↓reduceIte]
-s    rw [ih v rest h.1]
-    simp only [length_append_sub, ↓reduceIte]
-t    rw [ih v rest h.1]
-    simp only [length_append_sub, ↓reduceIte]
-.    rw [ih v rest h.1]
-    simp only [length_append_sub, ↓reduceIte]
-l    rw [ih v rest h.1]
-    simp only [length_append_sub, ↓reduceIte]
-e    rw [ih v rest h.1]
-    simp only [length_append_sub, ↓reduceIte]
-n    rw [ih v rest h.1]
-    simp only [length_append_sub, ↓reduceIte]
-g    rw [ih v rest h.1]
-    simp only [length_append_sub, ↓reduceIte]
-t    rw [ih v rest h.1]
-    simp only [length_append_sub, ↓reduceIte]
-h    rw [ih v rest h.1]
-    simp only [length_append_sub, ↓reduceIte]
-_    rw [ih v rest h.1]
-    simp only [length_append_sub, ↓reduceIte]
-a    rw [ih v rest h.1]
-    simp only [length_append_sub, ↓reduceIte]
-p    rw [ih v rest h.1]
-    simp only [length_append_sub, ↓reduceIte]
-p    rw [ih v rest h.1]
-    simp only [length_append_sub, ↓reduceIte]
-e    rw [ih v rest h.1]
-    simp only [length_append_sub, ↓reduceIte]
-n    rw [ih v rest h.1]
-    simp only [length_append_sub, ↓reduceIte]
-d    rw [ih v rest h.1]
-    simp only [length_append_sub, ↓reduceIte]
-,    rw [ih v rest h.1]
-    simp only [length_append_sub, ↓reduceIte]
-     rw [ih v rest h.1]
-    simp only [length_append_sub, ↓reduceIte]
-p    rw [ih v rest h.1]
-    simp only [length_append_sub, ↓reduceIte]
-r    rw [ih v rest h.1]
-    simp only [length_append_sub, ↓reduceIte]
-e    rw [ih v rest h.1]
-    simp only [length_append_sub, ↓reduceIte]
-p    rw [ih v rest h.1]
-    simp only [length_append_sub, ↓reduceIte]
-V    rw [ih v rest h.1]
-    simp only [length_append_sub, ↓reduceIte]
-a    rw [ih v rest h.1]
-    simp only [length_append_sub, ↓reduceIte]
-r    rw [ih v rest h.1]
-    simp only [length_append_sub, ↓reduceIte]
-i    rw [ih v rest h.1]
-    simp only [length_append_sub, ↓reduceIte]
-n    rw [ih v rest h.1]
-    simp only [length_append_sub, ↓reduceIte]
-t    rw [ih v rest h.1]
-    simp only [length_append_sub, ↓reduceIte]
-]    rw [ih v rest h.1]
-    simp only [length_append_sub, ↓reduceIte]
-;    rw [ih v rest h.1]
-    simp only [length_append_sub, ↓reduceIte]
-     rw [ih v rest h.1]
-    simp only [length_append_sub, ↓reduceIte]
-o    rw [ih v rest h.1]
-    simp only [length_append_sub, ↓reduceIte]
-m    rw [ih v rest h.1]
-    simp only [length_append_sub, ↓reduceIte]
-e    rw [ih v rest h.1]
-    simp only [length_append_sub, ↓reduceIte]
-g    rw [ih v rest h.1]
-    simp only [length_append_sub, ↓reduceIte]
-a    rw [ih v rest h.1]
-    simp only [length_append_sub, ↓reduceIte]
-
-    rw [ih v rest h.1]
-    simp only [length_append_sub, ↓reduceIte]
-     rw [ih v rest h.1]
-    simp only [length_append_sub, ↓reduceIte]
-     rw [ih v rest h.1]
-    simp only [length_append_sub, ↓reduceIte]
-     rw [ih v rest h.1]
-    simp only [length_append_sub, ↓reduceIte]
-     rw [ih v rest h.1]
-    simp only [length_append_sub, ↓reduceIte]
-s    rw [ih v rest h.1]
-    simp only [length_append_sub, ↓reduceIte]
-i    rw [ih v rest h.1]
-    simp only [length_append_sub, ↓reduceIte]
-m    rw [ih v rest h.1]
-    simp only [length_append_sub, ↓reduceIte]
-p    rw [ih v rest h.1]
-    simp only [length_append_sub, ↓reduceIte]
-     rw [ih v rest h.1]
-    simp only [length_append_sub, ↓reduceIte]
-o    rw [ih v rest h.1]
-    simp only [length_append_sub, ↓reduceIte]
-n    rw [ih v rest h.1]
-    simp only [length_append_sub, ↓reduceIte]
-l    rw [ih v rest h.1]
-    simp only [length_append_sub, ↓reduceIte]
-y    rw [ih v rest h.1]
-    simp only [length_append_sub, ↓reduceIte]
-     rw [ih v rest h.1]
-    simp only [length_append_sub, ↓reduceIte]
-[    rw [ih v rest h.1]
-    simp only [length_append_sub, ↓reduceIte]
-t    rw [ih v rest h.1]
-    simp only [length_append_sub, ↓reduceIte]
-h    rw [ih v rest h.1]
-    simp only [length_append_sub, ↓reduceIte]
-i    rw [ih v rest h.1]
-    simp only [length_append_sub, ↓reduceIte]
-s    rw [ih v rest h.1]
-    simp only [length_append_sub, ↓reduceIte]
-,    rw [ih v rest h.1]
-    simp only [length_append_sub, ↓reduceIte]
-     rw [ih v rest h.1]
-    simp only [length_append_sub, ↓reduceIte]
-↓    rw [ih v rest h.1]
-    simp only [length_append_sub, ↓reduceIte]
-r    rw [ih v rest h.1]
-    simp only [length_append_sub, ↓reduceIte]
-e    rw [ih v rest h.1]
-    simp only [length_append_sub, ↓reduceIte]
-d    rw [ih v rest h.1]
-    simp only [length_append_sub, ↓reduceIte]
-u    rw [ih v rest h.1]
-    simp only [length_append_sub, ↓reduceIte]
-c    rw [ih v rest h.1]
-    simp only [length_append_sub, ↓reduceIte]
-e    rw [ih v rest h.1]
-    simp only [length_append_sub, ↓reduceIte]
-I    rw [ih v rest h.1]
-    simp only [length_append_sub, ↓reduceIte]
-t    rw [ih v rest h.1]
-    simp only [length_append_sub, ↓reduceIte]
-e    rw [ih v rest h.1]
-    simp only [length_append_sub, ↓reduceIte]
-]    rw [ih v rest h.1]
-    simp only [length_append_sub, ↓reduceIte]
-
-    rw [ih v rest h.1]
-    simp only [length_append_sub, ↓reduceIte]
-     rw [ih v rest h.1]
-    simp only [length_append_sub, ↓reduceIte]
-     rw [ih v rest h.1]
-    simp only [length_append_sub, ↓reduceIte]
-|    rw [ih v rest h.1]
-    simp only [length_append_sub, ↓reduceIte]
-     rw [ih v rest h.1]
-    simp only [length_append_sub, ↓reduceIte]
-c    rw [ih v rest h.1]
-    simp only [length_append_sub, ↓reduceIte]
-r    rw [ih v rest h.1]
-    simp only [length_append_sub, ↓reduceIte]
-c    rw [ih v rest h.1]
-    simp only [length_append_sub, ↓reduceIte]
-     rw [ih v rest h.1]
-    simp only [length_append_sub, ↓reduceIte]
-p    rw [ih v rest h.1]
-    simp only [length_append_sub, ↓reduceIte]
-     rw [ih v rest h.1]
-    simp only [length_append_sub, ↓reduceIte]
-f    rw [ih v rest h.1]
-    simp only [length_append_sub, ↓reduceIte]
-     rw [ih v rest h.1]
-    simp only [length_append_sub, ↓reduceIte]
-i    rw [ih v rest h.1]
-    simp only [length_append_sub, ↓reduceIte]
-h    rw [ih v rest h.1]
-    simp only [length_append_sub, ↓reduceIte]
-     rw [ih v rest h.1]
-    simp only [length_append_sub, ↓reduceIte]
-=    rw [ih v rest h.1]
-    simp only [length_append_sub, ↓reduceIte]
->    rw [ih v rest h.1]
-    simp only [length_append_sub, ↓reduceIte]
-
-    rw [ih v rest h.1]
-    simp only [length_append_sub, ↓reduceIte]
-     rw [ih v rest h.1]
-    simp only [length_append_sub, ↓reduceIte]
-     rw [ih v rest h.1]
-    simp only [length_append_sub, ↓reduceIte]
-     rw [ih v rest h.1]
-    simp only [length_append_sub, ↓reduceIte]
-     rw [ih v rest h.1]
-    simp only [length_append_sub, ↓reduceIte]
-i    rw [ih v rest h.1]
-    simp only [length_append_sub, ↓reduceIte]
-n    rw [ih v rest h.1]
-    simp only [length_append_sub, ↓reduceIte]
-t    rw [ih v rest h.1]
-    simp only [length_append_sub, ↓reduceIte]
-r    rw [ih v rest h.1]
-    simp only [length_append_sub, ↓reduceIte]
-o    rw [ih v rest h.1]
-    simp only [length_append_sub, ↓reduceIte]
-     rw [ih v rest h.1]
-    simp only [length_append_sub, ↓reduceIte]
-v    rw [ih v rest h.1]
-    simp only [length_append_sub, ↓reduceIte]
-     rw [ih v rest h.1]
-    simp only [length_append_sub, ↓reduceIte]
-r    rw [ih v rest h.1]
-    simp only [length_append_sub, ↓reduceIte]
-e    rw [ih v rest h.1]
-    simp only [length_append_sub, ↓reduceIte]
-s    rw [ih v rest h.1]
-    simp only [length_append_sub, ↓reduceIte]
-t    rw [ih v rest h.1]
-    simp only [length_append_sub, ↓reduceIte]
-     rw [ih v rest h.1]
-    simp only [length_append_sub, ↓reduceIte]
-h    rw [ih v rest h.1]
-    simp only [length_append_sub, ↓reduceIte]
-
-    rw [ih v rest h.1]
-    simp only [length_append_sub, ↓reduceIte]
-     rw [ih v rest h.1]
-    simp only [length_append_sub, ↓reduceIte]
-     rw [ih v rest h.1]
-    simp only [length_append_sub, ↓reduceIte]
-     rw [ih v rest h.1]
-    simp only [length_append_sub, ↓reduceIte]
-     rw [ih v rest h.1]
-    simp only [length_append_sub, ↓reduceIte]
-s    rw [ih v rest h.1]
-    simp only [length_append_sub, ↓reduceIte]
-i    rw [ih v rest h.1]
-    simp only [length_append_sub, ↓reduceIte]
-m    rw [ih v rest h.1]
-    simp only [length_append_sub, ↓reduceIte]
-p    rw [ih v rest h.1]
-    simp only [length_append_sub, ↓reduceIte]
-     rw [ih v rest h.1]
-    simp only [length_append_sub, ↓reduceIte]
-o    rw [ih v rest h.1]
-    simp only [length_append_sub, ↓reduceIte]
-n    rw [ih v rest h.1]
-    simp only [length_append_sub, ↓reduceIte]
-l    rw [ih v rest h.1]
-    simp only [length_append_sub, ↓reduceIte]
-y    rw [ih v rest h.1]
-    simp only [length_append_sub, ↓reduceIte]
-     rw [ih v rest h.1]
-    simp only [length_append_sub, ↓reduceIte]
-[    rw [ih v rest h.1]
-    simp only [length_append_sub, ↓reduceIte]
-W    rw [ih v rest h.1]
-    simp only [length_append_sub, ↓reduceIte]
-T    rw [ih v rest h.1]
-    simp only [length_append_sub, ↓reduceIte]
-]    rw [ih v rest h.1]
-    simp only [length_append_sub, ↓reduceIte]
-     rw [ih v rest h.1]
-    simp only [length_append_sub, ↓reduceIte]
-a    rw [ih v rest h.1]
-    simp only [length_append_sub, ↓reduceIte]
-t    rw [ih v rest h.1]
-    simp only [length_append_sub, ↓reduceIte]
-     rw [ih v rest h.1]
-    simp only [length_append_sub, ↓reduceIte]
-h    rw [ih v rest h.1]
-    simp only [length_append_sub, ↓reduceIte]
-
-    rw [ih v rest h.1]
-    simp only [length_append_sub, ↓reduceIte]
-     rw [ih v rest h.1]
-    simp only [length_append_sub, ↓reduceIte]
-     rw [ih v rest h.1]
-    simp only [length_append_sub, ↓reduceIte]
-     rw [ih v rest h.1]
-    simp only [length_append_sub, ↓reduceIte]
-     rw [ih v rest h.1]
-    simp only [length_append_sub, ↓reduceIte]
-s    rw [ih v rest h.1]
-    simp only [length_append_sub, ↓reduceIte]
-i    rw [ih v rest h.1]
-    simp only [length_append_sub, ↓reduceIte]
-m    rw [ih v rest h.1]
-    simp only [length_append_sub, ↓reduceIte]
-p    rw [ih v rest h.1]
-    simp only [length_append_sub, ↓reduceIte]
-     rw [ih v rest h.1]
-    simp only [length_append_sub, ↓reduceIte]
-o    rw [ih v rest h.1]
-    simp only [length_append_sub, ↓reduceIte]
-n    rw [ih v rest h.1]
-    simp only [length_append_sub, ↓reduceIte]
-l    rw [ih v rest h.1]
-    simp only [length_append_sub, ↓reduceIte]
-y    rw [ih v rest h.1]
-    simp only [length_append_sub, ↓reduceIte]
-     rw [ih v rest h.1]
-    simp only [length_append_sub, ↓reduceIte]
-[    rw [ih v rest h.1]
-    simp only [length_append_sub, ↓reduceIte]
-e    rw [ih v rest h.1]
-    simp only [length_append_sub, ↓reduceIte]
-n    rw [ih v rest h.1]
-    simp only [length_append_sub, ↓reduceIte]
-c    rw [ih v rest h.1]
-    simp only [length_append_sub, ↓reduceIte]
-,    rw [ih v rest h.1]
-    simp only [length_append_sub, ↓reduceIte]
-     rw [ih v rest h.1]
-    simp only [length_append_sub, ↓reduceIte]
-d    rw [ih v rest h.1]
-    simp only [length_append_sub, ↓reduceIte]
-e    rw [ih v rest h.1]
-    simp only [length_append_sub, ↓reduceIte]
-c    rw [ih v rest h.1]
-    simp only [length_append_sub, ↓reduceIte]
-,    rw [ih v rest h.1]
-    simp only [length_append_sub, ↓reduceIte]
-     rw [ih v rest h.1]
-    simp only [length_append_sub, ↓reduceIte]
-p    rw [ih v rest h.1]
-    simp only [length_append_sub, ↓reduceIte]
-u    rw [ih v rest h.1]
-    simp only [length_append_sub, ↓reduceIte]
-t    rw [ih v rest h.1]
-    simp only [length_append_sub, ↓reduceIte]
-C    rw [ih v rest h.1]
-    simp only [length_append_sub, ↓reduceIte]
-r    rw [ih v rest h.1]
-    simp only [length_append_sub, ↓reduceIte]
-c    rw [ih v rest h.1]
-    simp only [length_append_sub, ↓reduceIte]
-,    rw [ih v rest h.1]
-    simp only [length_append_sub, ↓reduceIte]
-     rw [ih v rest h.1]
-    simp only [length_append_sub, ↓reduceIte]
-L    rw [ih v rest h.1]
-    simp only [length_append_sub, ↓reduceIte]
-i    rw [ih v rest h.1]
-    simp only [length_append_sub, ↓reduceIte]
-s    rw [ih v rest h.1]
-    simp only [length_append_sub, ↓reduceIte]
-t    rw [ih v rest h.1]
-    simp only [length_append_sub, ↓reduceIte]
-.    rw [ih v rest h.1]
-    simp only [length_append_sub, ↓reduceIte]
-a    rw [ih v rest h.1]
-    simp only [length_append_sub, ↓reduceIte]
-p    rw [ih v rest h.1]
-    simp only [length_append_sub, ↓reduceIte]
-p    rw [ih v rest h.1]
-    simp only [length_append_sub, ↓reduceIte]
-e    rw [ih v rest h.1]
-    simp only [length_append_sub, ↓reduceIte]
-n    rw [ih v rest h.1]
-    simp only [length_append_sub, ↓reduceIte]
-d    rw [ih v rest h.1]
-    simp only [length_append_sub, ↓reduceIte]
-_    rw [ih v rest h.1]
-    simp only [length_append_sub, ↓reduceIte]
-a    rw [ih v rest h.1]
-    simp only [length_append_sub, ↓reduceIte]
-s    rw [ih v rest h.1]
-    simp only [length_append_sub, ↓reduceIte]
-s    rw [ih v rest h.1]
-    simp only [length_append_sub, ↓reduceIte]
-o    rw [ih v rest h.1]
-    simp only [length_append_sub, ↓reduceIte]
-c    rw [ih v rest h.1]
-    simp only [length_append_sub, ↓reduceIte]
-]    rw [ih v rest h.1]
-    simp only [length_append_sub, ↓reduceIte]
-
-    rw [ih v rest h.1]
-    simp only [length_append_sub, ↓reduceIte]
-     rw [ih v rest h.1]
-    simp only [length_append_sub, ↓reduceIte]
-     rw [ih v rest h.1]
-    simp only [length_append_sub, ↓reduceIte]
-     rw [ih v rest h.1]
-    simp only [length_append_sub, ↓reduceIte]
-     rw [ih v rest h.1]
-    simp only [length_append_sub, ↓reduceIte]
-r    rw [ih v rest h.1]
-    simp only [length_append_sub, ↓reduceIte]
-w    rw [ih v rest h.1]
-    simp only [length_append_sub, ↓reduceIte]
-     rw [ih v rest h.1]
-    simp only [length_append_sub, ↓reduceIte]
-[    rw [ih v rest h.1]
-    simp only [length_append_sub, ↓reduceIte]
-g    rw [ih v rest h.1]
-    simp only [length_append_sub, ↓reduceIte]
-e    rw [ih v rest h.1]
-    simp only [length_append_sub, ↓reduceIte]
-t    rw [ih v rest h.1]
-    simp only [length_append_sub, ↓reduceIte]
-U    rw [ih v rest h.1]
-    simp only [length_append_sub, ↓reduceIte]
-I    rw [ih v rest h.1]
-    simp only [length_append_sub, ↓reduceIte]
-n    rw [ih v rest h.1]
-    simp only [length_append_sub, ↓reduceIte]
-t    rw [ih v rest h.1]
-    simp only [length_append_sub, ↓reduceIte]
-_    rw [ih v rest h.1]
-    simp only [length_append_sub, ↓reduceIte]
-b    rw [ih v rest h.1]
-    simp only [length_append_sub, ↓reduceIte]
-e    rw [ih v rest h.1]
-    simp only [length_append_sub, ↓reduceIte]
-     rw [ih v rest h.1]
-    simp only [length_append_sub, ↓reduceIte]
-4    rw [ih v rest h.1]
-    simp only [length_append_sub, ↓reduceIte]
-     rw [ih v rest h.1]
-    simp only [length_append_sub, ↓reduceIte]
-_    rw [ih v rest h.1]
-    simp only [length_append_sub, ↓reduceIte]
-     rw [ih v rest h.1]
-    simp only [length_append_sub, ↓reduceIte]
-_    rw [ih v rest h.1]
-    simp only [length_append_sub, ↓reduceIte]
-     rw [ih v rest h.1]
-    simp only [length_append_sub, ↓reduceIte]
-(    rw [ih v rest h.1]
-    simp only [length_append_sub, ↓reduceIte]
-c    rw [ih v rest h.1]
-    simp only [length_append_sub, ↓reduceIte]
-r    rw [ih v rest h.1]
-    simp only [length_append_sub, ↓reduceIte]
-c    rw [ih v rest h.1]
-    simp only [length_append_sub, ↓reduceIte]
-3    rw [ih v rest h.1]
-    simp only [length_append_sub, ↓reduceIte]
-2    rw [ih v rest h.1]
-    simp only [length_append_sub, ↓reduceIte]
-_    rw [ih v rest h.1]
-    simp only [length_append_sub, ↓reduceIte]
-l    rw [ih v rest h.1]
-    simp only [length_append_sub, ↓reduceIte]
-t    rw [ih v rest h.1]
-    simp only [length_append_sub, ↓reduceIte]
-     rw [ih v rest h.1]
-    simp only [length_append_sub, ↓reduceIte]
-p    rw [ih v rest h.1]
-    simp only [length_append_sub, ↓reduceIte]
-     rw [ih v rest h.1]
-    simp only [length_append_sub, ↓reduceIte]
-_    rw [ih v rest h.1]
-    simp only [length_append_sub, ↓reduceIte]
-)    rw [ih v rest h.1]
-    simp only [length_append_sub, ↓reduceIte]
-]    rw [ih v rest h.1]
-    simp only [length_append_sub, ↓reduceIte]
-
-    rw [ih v rest h.1]
-    simp only [length_append_sub, ↓reduceIte]
-     rw [ih v rest h.1]
-    simp only [length_append_sub, ↓reduceIte]
-     rw [ih v rest h.1]
-    simp only [length_append_sub, ↓reduceIte]
-     rw [ih v rest h.1]
-    simp only [length_append_sub, ↓reduceIte]
-     rw [ih v rest h.1]
-    simp only [length_append_sub, ↓reduceIte]
-s    rw [ih v rest h.1]
-    simp only [length_append_sub, ↓reduceIte]
-i    rw [ih v rest h.1]
-    simp only [length_append_sub, ↓reduceIte]
-m    rw [ih v rest h.1]
-    simp only [length_append_sub, ↓reduceIte]
-p    rw [ih v rest h.1]
-    simp only [length_append_sub, ↓reduceIte]
-     rw [ih v rest h.1]
-    simp only [length_append_sub, ↓reduceIte]
-o    rw [ih v rest h.1]
-    simp only [length_append_sub, ↓reduceIte]
-n    rw [ih v rest h.1]
-    simp only [length_append_sub, ↓reduceIte]
-l    rw [ih v rest h.1]
-    simp only [length_append_sub, ↓reduceIte]
-y    rw [ih v rest h.1]
-    simp only [length_append_sub, ↓reduceIte]
-     rw [ih v rest h.1]
-    simp only [length_append_sub, ↓reduceIte]
-[    rw [ih v rest h.1]
-    simp only [length_append_sub, ↓reduceIte]
-]    rw [ih v rest h.1]
-    simp only [length_append_sub, ↓reduceIte]
-
-    rw [ih v rest h.1]
-    simp only [length_append_sub, ↓reduceIte]
-     rw [ih v rest h.1]
-    simp only [length_append_sub, ↓reduceIte]
-     rw [ih v rest h.1]
-    simp only [length_append_sub, ↓reduceIte]
-     rw [ih v rest h.1]
-    simp only [length_append_sub, ↓reduceIte]
-     rw [ih v rest h.1]
-    simp only [length_append_sub, ↓reduceIte]
-r    rw [ih v rest h.1]
-    simp only [length_append_sub, ↓reduceIte]
-w    rw [ih v rest h.1]
-    simp only [length_append_sub, ↓reduceIte]
-     rw [ih v rest h.1]
-    simp only [length_append_sub, ↓reduceIte]
-[    rw [ih v rest h.1]
-    simp only [length_append_sub, ↓reduceIte]
-i    rw [ih v rest h.1]
-    simp only [length_append_sub, ↓reduceIte]
-h    rw [ih v rest h.1]
-    simp only [length_append_sub, ↓reduceIte]
-     rw [ih v rest h.1]
-    simp only [length_append_sub, ↓reduceIte]
-v    rw [ih v rest h.1]
-    simp only [length_append_sub, ↓reduceIte]
-     rw [ih v rest h.1]
-    simp only [length_append_sub, ↓reduceIte]
-r    rw [ih v rest h.1]
-    simp only [length_append_sub, ↓reduceIte]
-e    rw [ih v rest h.1]
-    simp only [length_append_sub, ↓reduceIte]
-s    rw [ih v rest h.1]
-    simp only [length_append_sub, ↓reduceIte]
-t    rw [ih v rest h.1]
-    simp only [length_append_sub, ↓reduceIte]
-     rw [ih v rest h.1]
-    simp only [length_append_sub, ↓reduceIte]
-h    rw [ih v rest h.1]
-    simp only [length_append_sub, ↓reduceIte]
-]    rw [ih v rest h.1]
-    simp only [length_append_sub, ↓reduceIte]
-
-    rw [ih v rest h.1]
-    simp only [length_append_sub, ↓reduceIte]
-     rw [ih v rest h.1]
-    simp only [length_append_sub, ↓reduceIte]
-     rw [ih v rest h.1]
-    simp only [length_append_sub, ↓reduceIte]
-     rw [ih v rest h.1]
-    simp only [length_append_sub, ↓reduceIte]
-     rw [ih v rest h.1]
-    simp only [length_append_sub, ↓reduceIte]
-s    rw [ih v rest h.1]
-    simp only [length_append_sub, ↓reduceIte]
-i    rw [ih v rest h.1]
-    simp only [length_append_sub, ↓reduceIte]
-m    rw [ih v rest h.1]
-    simp only [length_append_sub, ↓reduceIte]
-p    rw [ih v rest h.1]
-    simp only [length_append_sub, ↓reduceIte]
-     rw [ih v rest h.1]
-    simp only [length_append_sub, ↓reduceIte]
-o    rw [ih v rest h.1]
-    simp only [length_append_sub, ↓reduceIte]
-n    rw [ih v rest h.1]
-    simp only [length_append_sub, ↓reduceIte]
-l    rw [ih v rest h.1]
-    simp only [length_append_sub, ↓reduceIte]
-y    rw [ih v rest h.1]
-    simp only [length_append_sub, ↓reduceIte]
-     rw [ih v rest h.1]
-    simp only [length_append_sub, ↓reduceIte]
-[    rw [ih v rest h.1]
-    simp only [length_append_sub, ↓reduceIte]
-l    rw [ih v rest h.1]
-    simp only [length_append_sub, ↓reduceIte]
-e    rw [ih v rest h.1]
-    simp only [length_append_sub, ↓reduceIte]
-n    rw [ih v rest h.1]
-    simp only [length_append_sub, ↓reduceIte]
-g    rw [ih v rest h.1]
-    simp only [length_append_sub, ↓reduceIte]
-t    rw [ih v rest h.1]
-    simp only [length_append_sub, ↓reduceIte]
-h    rw [ih v rest h.1]
-    simp only [length_append_sub, ↓reduceIte]
-_    rw [ih v rest h.1]
-    simp only [length_append_sub, ↓reduceIte]
-a    rw [ih v rest h.1]
-    simp only [length_append_sub, ↓reduceIte]
-p    rw [ih v rest h.1]
-    simp only [length_append_sub, ↓reduceIte]
-p    rw [ih v rest h.1]
-    simp only [length_append_sub, ↓reduceIte]
-e    rw [ih v rest h.1]
-    simp only [length_append_sub, ↓reduceIte]
-n    rw [ih v rest h.1]
-    simp only [length_append_sub, ↓reduceIte]
-d    rw [ih v rest h.1]
-    simp only [length_append_sub, ↓reduceIte]
-_    rw [ih v rest h.1]
-    simp only [length_append_sub, ↓reduceIte]
-s    rw [ih v rest h.1]
-    simp only [length_append_sub, ↓reduceIte]
-u    rw [ih v rest h.1]
-    simp only [length_append_sub, ↓reduceIte]
-b    rw [ih v rest h.1]
-    simp only [length_append_sub, ↓reduceIte]
-,    rw [ih v rest h.1]
-    simp only [length_append_sub, ↓reduceIte]
-     rw [ih v rest h.1]
-    simp only [length_append_sub, ↓reduceIte]
-L    rw [ih v rest h.1]
-    simp only [length_append_sub, ↓reduceIte]
-i    rw [ih v rest h.1]
-    simp only [length_append_sub, ↓reduceIte]
-s    rw [ih v rest h.1]
-    simp only [length_append_sub, ↓reduceIte]
-t    rw [ih v rest h.1]
-    simp only [length_append_sub, ↓reduceIte]
-.    rw [ih v rest h.1]
-    simp only [length_append_sub, ↓reduceIte]
-t    rw [ih v rest h.1]
-    simp only [length_append_sub, ↓reduceIte]
-a    rw [ih v rest h.1]
-    simp only [length_append_sub, ↓reduceIte]
-k    rw [ih v rest h.1]
-    simp only [length_append_sub, ↓reduceIte]
-e    rw [ih v rest h.1]
-    simp only [length_append_sub, ↓reduceIte]
-_    rw [ih v rest h.1]
-    simp only [length_append_sub, ↓reduceIte]
-l    rw [ih v rest h.1]
-    simp only [length_append_sub, ↓reduceIte]
-e    rw [ih v rest h.1]
-    simp only [length_append_sub, ↓reduceIte]
-f    rw [ih v rest h.1]
-    simp only [length_append_sub, ↓reduceIte]
-t    rw [ih v rest h.1]
-    simp only [length_append_sub, ↓reduceIte]
-,    rw [ih v rest h.1]
-    simp only [length_append_sub, ↓reduceIte]
-     rw [ih v rest h.1]
-    simp only [length_append_sub, ↓reduceIte]
-↓    rw [ih v rest h.1]
-    simp only [length_append_sub, ↓reduceIte]
-r    rw [ih v rest h.1]
-    simp only [length_append_sub, ↓reduceIte]
-e    rw [ih v rest h.1]
-    simp only [length_append_sub, ↓reduceIte]
-d    rw [ih v rest h.1]
-    simp only [length_append_sub, ↓reduceIte]
-u    rw [ih v rest h.1]
-    simp only [length_append_sub, ↓reduceIte]
-c    rw [ih v rest h.1]
-    simp only [length_append_sub, ↓reduceIte]
-e    rw [ih v rest h.1]
-    simp only [length_append_sub, ↓reduceIte]
-I    rw [ih v rest h.1]
-    simp only [length_append_sub, ↓reduceIte]
-t    rw [ih v rest h.1]
-    simp only [length_append_sub, ↓reduceIte]
-e    rw [ih v rest h.1]
-    simp only [length_append_sub, ↓reduceIte]
-]    rw [ih v rest h.1]
-    simp only [length_append_sub, ↓reduceIte]
-
-    rw [ih v rest h.1]
-    simp only [length_append_sub, ↓reduceIte]
-
-    rw [ih v rest h.1]
-    simp only [length_append_sub, ↓reduceIte]
-e    rw [ih v rest h.1]
-    simp only [length_append_sub, ↓reduceIte]
-n    rw [ih v rest h.1]
-    simp only [length_append_sub, ↓reduceIte]
-d    rw [ih v rest h.1]
-    simp only [length_append_sub, ↓reduceIte]
-     rw [ih v rest h.1]
-    simp only [length_append_sub, ↓reduceIte]
-L    rw [ih v rest h.1]
-    simp only [length_append_sub, ↓reduceIte]
-e    rw [ih v rest h.1]
-    simp only [length_append_sub, ↓reduceIte]
-m    rw [ih v rest h.1]
-    simp only [length_append_sub, ↓reduceIte]
-m    rw [ih v rest h.1]
-    simp only [length_append_sub, ↓reduceIte]
-a    rw [ih v rest h.1]
-    simp only [length_append_sub, ↓reduceIte]
-s    rw [ih v rest h.1]
-    simp only [length_append_sub, ↓reduceIte]
-.    rw [ih v rest h.1]
-    simp only [length_append_sub, ↓reduceIte]
-C    rw [ih v rest h.1]
-    simp only [length_append_sub, ↓reduceIte]
-0    rw [ih v rest h.1]
-    simp only [length_append_sub, ↓reduceIte]
-9    rw [ih v rest h.1]
-    simp only [length_append_sub, ↓reduceIte]
-
-    rw [ih v rest h.1]
-    simp only [length_append_sub, ↓reduceIte]
+import SaramaVerif.Model.CodecFmt
+import SaramaVerif.Lemmas.C09Prim
+/-
+  Helper lemmas for C09 about the schema interpreters of Model/CodecFmt.lean.
+-/
+namespace Lemmas.C09
+open Model.Codec
+
+/-! ### primitives as `Prim` -/
+
+theorem intsOf_length (vs : List Val) : (intsOf vs).length = vs.length := by simp [intsOf]
+theorem bytesOf_length (vs : List Val) : (bytesOf vs).length = vs.length := by simp [bytesOf]
+
+theorem allInt_spec (n : Nat) (vs : List Val) (h : allInt n vs = true) :
+    (intsOf vs).map Val.int = vs ∧ ∀ x ∈ intsOf vs, InInt n x := by
+  induction vs with
+  | nil => simp [intsOf]
+  | cons v vs ih =>
+    cases v with
+    | int i =>
+      simp only [allInt, Bool.and_eq_true, decide_eq_true_eq] at h
+      have := ih h.2
+      constructor
+      · simp only [intsOf, List.map_cons, List.map_map] at *; rw [this.1]
+      · intro x hx
+        simp only [intsOf, List.map_cons, List.mem_cons] at hx
+        rcases hx with hx | hx
+        · rw [hx]; exact h.1
+        · exact this.2 x hx
+    | _ => simp [allInt] at h
+
+theorem allStr_spec (vs : List Val) (h : allStr vs = true) :
+    (bytesOf vs).map Val.bytes = vs ∧ ∀ s ∈ bytesOf vs, s.length < 2 ^ 15 := by
+  induction vs with
+  | nil => simp [bytesOf]
+  | cons v vs ih =>
+    cases v with
+    | bytes b =>
+      simp only [allStr, Bool.and_eq_true, decide_eq_true_eq] at h
+      have := ih h.2
+      constructor
+      · simp only [bytesOf, List.map_cons, List.map_map] at *; rw [this.1]
+      · intro x hx
+        simp only [bytesOf, List.map_cons, List.mem_cons] at hx
+        rcases hx with hx | hx
+        · rw [hx]; exact h.1
+        · exact this.2 x hx
+    | _ => simp [allStr] at h
+
+theorem prepUVarint_zero : prepUVarint 0 = putEmptyTagged.length := by decide
+
+/-- both encoder passes agree on every primitive, for every value (also ill-typed ones: nothing is written) -/
+theorem sizeP_eq (p : Prim) (v : Val) : sizeP p v = (encP p v).length := by
+  cases p <;> cases v <;>
+    simp only [sizeP, encP, putInt_length, prepVarint, prepUVarint, prepBytes_eq, prepVarintBytes_eq,
+      prepCompactBytes_eq, prepString_eq, prepNullableString_eq, prepCompactString_eq,
+      prepNullableCompactString_eq, prepIntArray_eq, prepCompactInt32Array_eq, prepNullableCompactInt32Array_eq,
+      prepStringArray_eq, List.length_nil, putBool, putEmptyTagged]
+
+/-- every getter inverts its putter -/
+theorem decP_encP (p : Prim) (v : Val) (rest : Bytes) (h : wtP p v = true) :
+    decP p (encP p v ++ rest) = some (v, rest) := by
+  cases p <;> cases v <;> simp only [wtP, Bool.false_eq_true, Bool.and_eq_true, decide_eq_true_eq] at h <;>
+    simp only [decP, encP]
+  case i8.int x => rw [getInt_putInt 1 x rest (by decide) h]; rfl
+  case i16.int x => rw [getInt_putInt 2 x rest (by decide) h]; rfl
+  case i32.int x => rw [getInt_putInt 4 x rest (by decide) h]; rfl
+  case i64.int x => rw [getInt_putInt 8 x rest (by decide) h]; rfl
+  case varint.int x => rw [getVarint_putVarint x rest h]; rfl
+  case uvarint.int x =>
+    have hx : x.toNat < 2 ^ 64 := by
+      have h2 := h.2
+      simp only [Nat.reducePow, Int.reducePow] at *
+      omega
+    rw [getUVarint_putUVarint x.toNat rest hx]
+    simp only [mapFst, Int.toNat_of_nonneg h.1]
+  case bool.int x =>
+    rw [getBool_putBool]
+    rcases h with h | h <;> subst h <;> rfl
+  case bytes.bytes b => rw [getBytes_putBytes (some b) rest (by intro b' hb; cases hb; exact h)]; rfl
+  case bytes.null => rw [getBytes_putBytes none rest (by intro b' hb; cases hb)]; rfl
+  case vbytes.bytes b => rw [getVarintBytes_put (some b) rest (by intro b' hb; cases hb; exact h)]; rfl
+  case vbytes.null => rw [getVarintBytes_put none rest (by intro b' hb; cases hb)]; rfl
+  case cbytes.bytes b => rw [getCompactBytes_put b rest h]; rfl
+  case str.bytes s => rw [getString_putString s rest h]; rfl
+  case nstr.bytes s => rw [getNullableString_put (some s) rest (by intro b' hb; cases hb; exact h)]; rfl
+  case nstr.null => rw [getNullableString_put none rest (by intro b' hb; cases hb)]; rfl
+  case cstr.bytes s => rw [getCompactString_put s rest h]; rfl
+  case ncstr.bytes s => rw [getCompactNullableString_put (some s) rest (by intro b' hb; cases hb; exact h)]; rfl
+  case ncstr.null => rw [getCompactNullableString_put none rest (by intro b' hb; cases hb)]; rfl
+  case i32arr.list vs =>
+    have hs := allInt_spec 4 vs h.2
+    rw [getIntArray_put 4 (by decide) _ rest (by rw [intsOf_length]; exact h.1) hs.2]
+    simp only [mapFst, hs.1]
+  case i64arr.list vs =>
+    have hs := allInt_spec 8 vs h.2
+    rw [getIntArray_put 8 (by decide) _ rest (by rw [intsOf_length]; exact h.1) hs.2]
+    simp only [mapFst, hs.1]
+  case ci32arr.list vs =>
+    have hs := allInt_spec 4 vs h.2
+    rw [getCompactInt32Array_put _ rest (by rw [intsOf_length]; exact h.1) hs.2]
+    simp only [mapFst, hs.1]
+  case nci32arr.list vs =>
+    have hs := allInt_spec 4 vs h.2
+    rw [getCompactInt32Array_putNullable (some (intsOf vs)) rest
+      (by intro xs hx; cases hx; exact ⟨by rw [intsOf_length]; exact h.1, hs.2⟩)]
+    simp only [mapFst, hs.1]
+  case nci32arr.null =>
+    rw [getCompactInt32Array_putNullable none rest (by intro xs hx; cases hx)]; rfl
+  case strarr.list vs =>
+    have hs := allStr_spec vs h.2
+    rw [getStringArray_put _ rest (by rw [bytesOf_length]; exact h.1) hs.2]
+    simp only [mapFst, hs.1]
+  case tagged.unit => rw [getEmptyTagged_put]; rfl
+  case raw.bytes n b => subst h; rw [getRaw_append]; rfl
+
+/-! ### counts -/
+
+theorem prepCount_eq (c : Count) (n : Option Nat) : prepCount c n = (putCount c n).length := by
+  cases c <;> cases n <;>
+    simp [prepCount, putCount, putArrayLength, putInt_length, putCompactArrayLength, prepUVarint, prepVarint]
+
+theorem getCount_putCount_some (c : Count) (n : Nat) (body rest : Bytes)
+    (h : countOK c n body.length = true) :
+    getCount c (putCount c (some n) ++ (body ++ rest)) = some (some n, body ++ rest) := by
+  cases c <;> simp only [getCount, putCount] <;> simp only [countOK, decide_eq_true_eq] at h
+  · rw [getArrayLength_put n _ (inInt4_len n (by simp only [Nat.reducePow]; omega))
+      (by simp only [List.length_append]; omega) (by omega) (by omega)]
+    simp only [show ¬ ((n : Int) < 0) by omega, ↓reduceIte, Int.toNat_natCast]
+  · rw [getArrayLength_put n _ (inInt4_len n (by simp only [Nat.reducePow]; omega))
+      (by simp only [List.length_append]; omega) (by omega) (by omega)]
+    simp only [show ¬ ((n : Int) < 0) by omega, show ¬ ((n : Int) = -1) by omega, ↓reduceIte, Int.toNat_natCast]
+  · rw [getCompactArrayLength_put n _ h.1 (by simp only [List.length_append]; omega)]
+  · rw [getVarint_putVarint n _ (inInt8_len n h.1)]
+    simp only [List.length_append, show ¬ ((n : Int) > ((body.length + rest.length : Nat) : Int)) by omega, ↓reduceIte,
+      Int.toNat_natCast]
+
+theorem getCount_putCount_null (rest : Bytes) :
+    getCount .i32null (putCount .i32null none ++ rest) = some (none, rest) := by
+  simp only [getCount, putCount]
+  rw [getArrayLength_put (-1) rest (inInt_neg1 4 (by decide)) (by omega) (by omega) (by omega)]
+  simp only [↓reduceIte]
+
+/-! ### generic theorems -/
+
+theorem sum_map_length_flatten {α : Type} (g : α → Bytes) (s : α → Nat) (vs : List α) (h : ∀ v, s v = (g v).length) :
+    (vs.map s).sum = ((vs.map g).flatten).length := by
+  induction vs with
+  | nil => rfl
+  | cons v vs ih => simp only [List.map_cons, List.sum_cons, List.flatten_cons, List.length_append, ih, h]
+
+/-- GT: the sizing pass and the writing pass agree exactly, for every schema, version and value -/
+theorem size_eq_enc_length (f : Fmt) (ver : Nat) : ∀ v : Val, size f ver v = (enc f ver v).length := by
+  induction f with
+  | prim p => intro v; exact sizeP_eq p v
+  | unit => intro v; rfl
+  | seq a b iha ihb => intro v; cases v <;> simp only [size, enc, List.length_nil, List.length_append, iha, ihb]
+  | ite lo hi a b iha ihb =>
+    intro v; simp only [size, enc]; split
+    · exact iha v
+    · exact ihb v
+  | arr c e ih =>
+    intro v
+    cases v <;> simp only [size, enc, List.length_nil, List.length_append, prepCount_eq]
+    case list vs => rw [sum_map_length_flatten (enc e ver) (size e ver) vs ih]
+  | len32 f ih => intro v; simp only [size, enc, putLen32, List.length_append, putInt_length, ih]
+  | varlen f ih => intro v; simp only [size, enc, putVarLen, List.length_append, prepVarint, ih]
+  | crc p f ih => intro v; simp only [size, enc, putCrc, List.length_append, be_length, ih]
+
+theorem allWT_spec (w : Val → Bool) (vs : List Val) (h : allWT w vs = true) : ∀ v ∈ vs, w v = true := by
+  induction vs with
+  | nil => intro v hv; cases hv
+  | cons x xs ih =>
+    simp only [allWT, Bool.and_eq_true] at h
+    intro v hv
+    rcases List.mem_cons.mp hv with e | e
+    · rw [e]; exact h.1
+    · exact ih h.2 v e
+
+theorem decMany_flatten (d : Bytes → Option (Val × Bytes)) (g : Val → Bytes) (vs : List Val) (rest : Bytes)
+    (h : ∀ v ∈ vs, ∀ r, d (g v ++ r) = some (v, r)) :
+    decMany d vs.length ((vs.map g).flatten ++ rest) = some (vs, rest) := by
+  induction vs with
+  | nil => simp [decMany]
+  | cons v vs ih =>
+    simp only [List.map_cons, List.flatten_cons, List.append_assoc, List.length_cons, decMany]
+    rw [h v List.mem_cons_self]
+    simp only []
+    rw [ih (fun x hx => h x (List.mem_cons_of_mem _ hx))]
+
+theorem length_append_sub (a rest : Bytes) : (a ++ rest).length - rest.length = a.length := by
+  simp only [List.length_append]; omega
+
+/-- GT: decoding what was encoded (followed by anything) gives the value back and leaves the rest -/
+theorem dec_enc (f : Fmt) (ver : Nat) : ∀ (v : Val) (rest : Bytes), WT f ver v = true →
+    dec f ver (enc f ver v ++ rest) = some (v, rest) := by
+  induction f with
+  | prim p => intro v rest h; exact decP_encP p v rest h
+  | unit => intro v rest h; cases v <;> simp only [WT, Bool.false_eq_true] at h; rfl
+  | seq a b iha ihb =>
+    intro v rest h
+    cases v <;> simp only [WT, Bool.false_eq_true, Bool.and_eq_true] at h
+    case pair x y =>
+      simp only [enc, dec, List.append_assoc]
+      rw [iha x _ h.1]
+      simp only []
+      rw [ihb y _ h.2]
+  | ite lo hi a b iha ihb =>
+    intro v rest h
+    simp only [WT] at h
+    simp only [enc, dec]
+    split
+    · rename_i hc; exact iha v rest (by simpa [hc] using h)
+    · rename_i hc; exact ihb v rest (by simpa [hc] using h)
+  | arr c e ih =>
+    intro v rest h
+    cases v <;> simp only [WT, Bool.false_eq_true, Bool.and_eq_true, beq_iff_eq] at h
+    case null =>
+      subst h
+      simp only [enc, dec, getCount_putCount_null]
+    case list vs =>
+      have hall := allWT_spec _ _ h.1
+      simp only [enc, dec, List.append_assoc]
+      rw [getCount_putCount_some c vs.length _ rest h.2]
+      simp only []
+      rw [decMany_flatten (dec e ver) (enc e ver) vs rest (fun v hv r => ih v r (hall v hv))]
+  | len32 f ih =>
+    intro v rest h
+    simp only [WT, Bool.and_eq_true, decide_eq_true_eq] at h
+    simp only [enc, dec, putLen32, List.append_assoc]
+    rw [getInt_putInt 4 _ _ (by decide) (inInt4_len _ h.2)]
+    simp only [List.length_append, show ¬ (((enc f ver v).length : Int) > (((enc f ver v).length + rest.length : Nat) : Int)) by omega,
+      ↓reduceIte]
+    rw [ih v rest h.1]
+    simp only [show (enc f ver v).length + rest.length - rest.length = (enc f ver v).length by omega, ↓reduceIte]
+  | varlen f ih =>
+    intro v rest h
+    simp only [WT, Bool.and_eq_true, decide_eq_true_eq] at h
+    simp only [enc, dec, putVarLen, List.append_assoc, size_eq_enc_length]
+    rw [getVarint_putVarint _ _ (inInt8_len _ h.2)]
+    simp only []
+    rw [ih v rest h.1]
+    simp only [length_append_sub, ↓reduceIte]
+  | crc p f ih =>
+    intro v rest h
+    simp only [WT] at h
+    simp only [enc, dec, putCrc, List.append_assoc]
+    rw [getUInt_be 4 _ _ (crc32_lt p _)]
+    simp only []
+    rw [ih v rest h]
+    simp only [length_append_sub, List.take_left, ↓reduceIte]
+
+end Lemmas.C09
